@@ -1,4 +1,9 @@
 
+(** val implb : bool -> bool -> bool **)
+
+let implb b1 b2 =
+  if b1 then b2 else true
+
 (** val negb : bool -> bool **)
 
 let negb = function
@@ -9,15 +14,9 @@ type nat =
 | O
 | S of nat
 
-(** val fst : ('a1 * 'a2) -> 'a1 **)
-
-let fst = function
-| (x, _) -> x
-
-(** val snd : ('a1 * 'a2) -> 'a2 **)
-
-let snd = function
-| (_, y) -> y
+type ('a, 'b) sum =
+| Inl of 'a
+| Inr of 'b
 
 (** val length : 'a1 list -> nat **)
 
@@ -44,57 +43,6 @@ let compOpp = function
 | Lt -> Gt
 | Gt -> Lt
 
-module Coq__1 = struct
- (** val add : nat -> nat -> nat **)
- let rec add n0 m =
-   match n0 with
-   | O -> m
-   | S p -> S (add p m)
-end
-include Coq__1
-
-(** val sub : nat -> nat -> nat **)
-
-let rec sub n0 m =
-  match n0 with
-  | O -> n0
-  | S k -> (match m with
-            | O -> n0
-            | S l -> sub k l)
-
-(** val eqb : bool -> bool -> bool **)
-
-let eqb b1 b2 =
-  if b1 then b2 else if b2 then false else true
-
-module Nat =
- struct
-  (** val eqb : nat -> nat -> bool **)
-
-  let rec eqb n0 m =
-    match n0 with
-    | O -> (match m with
-            | O -> true
-            | S _ -> false)
-    | S n' -> (match m with
-               | O -> false
-               | S m' -> eqb n' m')
-
-  (** val leb : nat -> nat -> bool **)
-
-  let rec leb n0 m =
-    match n0 with
-    | O -> true
-    | S n' -> (match m with
-               | O -> false
-               | S m' -> leb n' m')
-
-  (** val ltb : nat -> nat -> bool **)
-
-  let ltb n0 m =
-    leb (S n0) m
- end
-
 type positive =
 | XI of positive
 | XO of positive
@@ -110,14 +58,6 @@ type z =
 | Zneg of positive
 
 module Pos =
- struct
-  type mask =
-  | IsNul
-  | IsPos of positive
-  | IsNeg
- end
-
-module Coq_Pos =
  struct
   (** val succ : positive -> positive **)
 
@@ -172,65 +112,6 @@ module Coq_Pos =
   | XO p -> XI (pred_double p)
   | XH -> XH
 
-  type mask = Pos.mask =
-  | IsNul
-  | IsPos of positive
-  | IsNeg
-
-  (** val succ_double_mask : mask -> mask **)
-
-  let succ_double_mask = function
-  | IsNul -> IsPos XH
-  | IsPos p -> IsPos (XI p)
-  | IsNeg -> IsNeg
-
-  (** val double_mask : mask -> mask **)
-
-  let double_mask = function
-  | IsPos p -> IsPos (XO p)
-  | x0 -> x0
-
-  (** val double_pred_mask : positive -> mask **)
-
-  let double_pred_mask = function
-  | XI p -> IsPos (XO (XO p))
-  | XO p -> IsPos (XO (pred_double p))
-  | XH -> IsNul
-
-  (** val sub_mask : positive -> positive -> mask **)
-
-  let rec sub_mask x y =
-    match x with
-    | XI p ->
-      (match y with
-       | XI q -> double_mask (sub_mask p q)
-       | XO q -> succ_double_mask (sub_mask p q)
-       | XH -> IsPos (XO p))
-    | XO p ->
-      (match y with
-       | XI q -> succ_double_mask (sub_mask_carry p q)
-       | XO q -> double_mask (sub_mask p q)
-       | XH -> IsPos (pred_double p))
-    | XH -> (match y with
-             | XH -> IsNul
-             | _ -> IsNeg)
-
-  (** val sub_mask_carry : positive -> positive -> mask **)
-
-  and sub_mask_carry x y =
-    match x with
-    | XI p ->
-      (match y with
-       | XI q -> succ_double_mask (sub_mask_carry p q)
-       | XO q -> double_mask (sub_mask p q)
-       | XH -> IsPos (pred_double p))
-    | XO p ->
-      (match y with
-       | XI q -> double_mask (sub_mask_carry p q)
-       | XO q -> succ_double_mask (sub_mask_carry p q)
-       | XH -> double_pred_mask p)
-    | XH -> IsNeg
-
   (** val mul : positive -> positive -> positive **)
 
   let rec mul x y =
@@ -238,13 +119,6 @@ module Coq_Pos =
     | XI p -> add y (XO (mul p y))
     | XO p -> XO (mul p y)
     | XH -> y
-
-  (** val size : positive -> positive **)
-
-  let rec size = function
-  | XI p0 -> succ (size p0)
-  | XO p0 -> succ (size p0)
-  | XH -> XH
 
   (** val compare_cont : comparison -> positive -> positive -> comparison **)
 
@@ -283,34 +157,15 @@ module Coq_Pos =
              | XH -> true
              | _ -> false)
 
-  (** val iter_op : ('a1 -> 'a1 -> 'a1) -> positive -> 'a1 -> 'a1 **)
+  (** val of_succ_nat : nat -> positive **)
 
-  let rec iter_op op p a =
-    match p with
-    | XI p0 -> op a (iter_op op p0 (op a a))
-    | XO p0 -> iter_op op p0 (op a a)
-    | XH -> a
-
-  (** val to_nat : positive -> nat **)
-
-  let to_nat x =
-    iter_op Coq__1.add x (S O)
+  let rec of_succ_nat = function
+  | O -> XH
+  | S x -> succ (of_succ_nat x)
  end
 
 module N =
  struct
-  (** val succ_double : n -> n **)
-
-  let succ_double = function
-  | N0 -> Npos XH
-  | Npos p -> Npos (XI p)
-
-  (** val double : n -> n **)
-
-  let double = function
-  | N0 -> N0
-  | Npos p -> Npos (XO p)
-
   (** val add : n -> n -> n **)
 
   let add n0 m =
@@ -318,174 +173,8 @@ module N =
     | N0 -> m
     | Npos p -> (match m with
                  | N0 -> n0
-                 | Npos q -> Npos (Coq_Pos.add p q))
-
-  (** val sub : n -> n -> n **)
-
-  let sub n0 m =
-    match n0 with
-    | N0 -> N0
-    | Npos n' ->
-      (match m with
-       | N0 -> n0
-       | Npos m' ->
-         (match Coq_Pos.sub_mask n' m' with
-          | Coq_Pos.IsPos p -> Npos p
-          | _ -> N0))
-
-  (** val mul : n -> n -> n **)
-
-  let mul n0 m =
-    match n0 with
-    | N0 -> N0
-    | Npos p -> (match m with
-                 | N0 -> N0
-                 | Npos q -> Npos (Coq_Pos.mul p q))
-
-  (** val compare : n -> n -> comparison **)
-
-  let compare n0 m =
-    match n0 with
-    | N0 -> (match m with
-             | N0 -> Eq
-             | Npos _ -> Lt)
-    | Npos n' -> (match m with
-                  | N0 -> Gt
-                  | Npos m' -> Coq_Pos.compare n' m')
-
-  (** val eqb : n -> n -> bool **)
-
-  let eqb n0 m =
-    match n0 with
-    | N0 -> (match m with
-             | N0 -> true
-             | Npos _ -> false)
-    | Npos p -> (match m with
-                 | N0 -> false
-                 | Npos q -> Coq_Pos.eqb p q)
-
-  (** val leb : n -> n -> bool **)
-
-  let leb x y =
-    match compare x y with
-    | Gt -> false
-    | _ -> true
-
-  (** val ltb : n -> n -> bool **)
-
-  let ltb x y =
-    match compare x y with
-    | Lt -> true
-    | _ -> false
-
-  (** val log2 : n -> n **)
-
-  let log2 = function
-  | N0 -> N0
-  | Npos p0 ->
-    (match p0 with
-     | XI p -> Npos (Coq_Pos.size p)
-     | XO p -> Npos (Coq_Pos.size p)
-     | XH -> N0)
-
-  (** val pos_div_eucl : positive -> n -> n * n **)
-
-  let rec pos_div_eucl a b =
-    match a with
-    | XI a' ->
-      let (q, r) = pos_div_eucl a' b in
-      let r' = succ_double r in
-      if leb b r' then ((succ_double q), (sub r' b)) else ((double q), r')
-    | XO a' ->
-      let (q, r) = pos_div_eucl a' b in
-      let r' = double r in
-      if leb b r' then ((succ_double q), (sub r' b)) else ((double q), r')
-    | XH ->
-      (match b with
-       | N0 -> (N0, (Npos XH))
-       | Npos p -> (match p with
-                    | XH -> ((Npos XH), N0)
-                    | _ -> (N0, (Npos XH))))
-
-  (** val div_eucl : n -> n -> n * n **)
-
-  let div_eucl a b =
-    match a with
-    | N0 -> (N0, N0)
-    | Npos na -> (match b with
-                  | N0 -> (N0, a)
-                  | Npos _ -> pos_div_eucl na b)
-
-  (** val div : n -> n -> n **)
-
-  let div a b =
-    fst (div_eucl a b)
-
-  (** val modulo : n -> n -> n **)
-
-  let modulo a b =
-    snd (div_eucl a b)
-
-  (** val to_nat : n -> nat **)
-
-  let to_nat = function
-  | N0 -> O
-  | Npos p -> Coq_Pos.to_nat p
+                 | Npos q -> Npos (Pos.add p q))
  end
-
-(** val rev : 'a1 list -> 'a1 list **)
-
-let rec rev = function
-| [] -> []
-| x :: l' -> app (rev l') (x :: [])
-
-(** val concat : 'a1 list list -> 'a1 list **)
-
-let rec concat = function
-| [] -> []
-| x :: l0 -> app x (concat l0)
-
-(** val map : ('a1 -> 'a2) -> 'a1 list -> 'a2 list **)
-
-let rec map f = function
-| [] -> []
-| a :: t -> (f a) :: (map f t)
-
-(** val flat_map : ('a1 -> 'a2 list) -> 'a1 list -> 'a2 list **)
-
-let rec flat_map f = function
-| [] -> []
-| x :: t -> app (f x) (flat_map f t)
-
-(** val forallb : ('a1 -> bool) -> 'a1 list -> bool **)
-
-let rec forallb f = function
-| [] -> true
-| a :: l0 -> (&&) (f a) (forallb f l0)
-
-(** val firstn : nat -> 'a1 list -> 'a1 list **)
-
-let rec firstn n0 l =
-  match n0 with
-  | O -> []
-  | S n1 -> (match l with
-             | [] -> []
-             | a :: l0 -> a :: (firstn n1 l0))
-
-(** val skipn : nat -> 'a1 list -> 'a1 list **)
-
-let rec skipn n0 l =
-  match n0 with
-  | O -> l
-  | S n1 -> (match l with
-             | [] -> []
-             | _ :: l0 -> skipn n1 l0)
-
-(** val repeat : 'a1 -> nat -> 'a1 list **)
-
-let rec repeat x = function
-| O -> []
-| S k -> x :: (repeat x k)
 
 module Z =
  struct
@@ -501,13 +190,13 @@ module Z =
   let succ_double = function
   | Z0 -> Zpos XH
   | Zpos p -> Zpos (XI p)
-  | Zneg p -> Zneg (Coq_Pos.pred_double p)
+  | Zneg p -> Zneg (Pos.pred_double p)
 
   (** val pred_double : z -> z **)
 
   let pred_double = function
   | Z0 -> Zneg XH
-  | Zpos p -> Zpos (Coq_Pos.pred_double p)
+  | Zpos p -> Zpos (Pos.pred_double p)
   | Zneg p -> Zneg (XI p)
 
   (** val pos_sub : positive -> positive -> z **)
@@ -523,11 +212,11 @@ module Z =
       (match y with
        | XI q -> pred_double (pos_sub p q)
        | XO q -> double (pos_sub p q)
-       | XH -> Zpos (Coq_Pos.pred_double p))
+       | XH -> Zpos (Pos.pred_double p))
     | XH ->
       (match y with
        | XI q -> Zneg (XO q)
-       | XO q -> Zneg (Coq_Pos.pred_double q)
+       | XO q -> Zneg (Pos.pred_double q)
        | XH -> Z0)
 
   (** val add : z -> z -> z **)
@@ -538,13 +227,13 @@ module Z =
     | Zpos x' ->
       (match y with
        | Z0 -> x
-       | Zpos y' -> Zpos (Coq_Pos.add x' y')
+       | Zpos y' -> Zpos (Pos.add x' y')
        | Zneg y' -> pos_sub x' y')
     | Zneg x' ->
       (match y with
        | Z0 -> x
        | Zpos y' -> pos_sub y' x'
-       | Zneg y' -> Zneg (Coq_Pos.add x' y'))
+       | Zneg y' -> Zneg (Pos.add x' y'))
 
   (** val opp : z -> z **)
 
@@ -552,6 +241,11 @@ module Z =
   | Z0 -> Z0
   | Zpos x0 -> Zneg x0
   | Zneg x0 -> Zpos x0
+
+  (** val sub : z -> z -> z **)
+
+  let sub m n0 =
+    add m (opp n0)
 
   (** val mul : z -> z -> z **)
 
@@ -561,13 +255,13 @@ module Z =
     | Zpos x' ->
       (match y with
        | Z0 -> Z0
-       | Zpos y' -> Zpos (Coq_Pos.mul x' y')
-       | Zneg y' -> Zneg (Coq_Pos.mul x' y'))
+       | Zpos y' -> Zpos (Pos.mul x' y')
+       | Zneg y' -> Zneg (Pos.mul x' y'))
     | Zneg x' ->
       (match y with
        | Z0 -> Z0
-       | Zpos y' -> Zneg (Coq_Pos.mul x' y')
-       | Zneg y' -> Zpos (Coq_Pos.mul x' y'))
+       | Zpos y' -> Zneg (Pos.mul x' y')
+       | Zneg y' -> Zpos (Pos.mul x' y'))
 
   (** val compare : z -> z -> comparison **)
 
@@ -578,11 +272,11 @@ module Z =
              | Zpos _ -> Lt
              | Zneg _ -> Gt)
     | Zpos x' -> (match y with
-                  | Zpos y' -> Coq_Pos.compare x' y'
+                  | Zpos y' -> Pos.compare x' y'
                   | _ -> Gt)
     | Zneg x' ->
       (match y with
-       | Zneg y' -> compOpp (Coq_Pos.compare x' y')
+       | Zneg y' -> compOpp (Pos.compare x' y')
        | _ -> Lt)
 
   (** val leb : z -> z -> bool **)
@@ -592,6 +286,13 @@ module Z =
     | Gt -> false
     | _ -> true
 
+  (** val ltb : z -> z -> bool **)
+
+  let ltb x y =
+    match compare x y with
+    | Lt -> true
+    | _ -> false
+
   (** val eqb : z -> z -> bool **)
 
   let eqb x y =
@@ -600,30896 +301,577 @@ module Z =
              | Z0 -> true
              | _ -> false)
     | Zpos p -> (match y with
-                 | Zpos q -> Coq_Pos.eqb p q
+                 | Zpos q -> Pos.eqb p q
                  | _ -> false)
     | Zneg p -> (match y with
-                 | Zneg q -> Coq_Pos.eqb p q
+                 | Zneg q -> Pos.eqb p q
                  | _ -> false)
 
-  (** val of_N : n -> z **)
+  (** val of_nat : nat -> z **)
 
-  let of_N = function
-  | N0 -> Z0
-  | Npos p -> Zpos p
+  let of_nat = function
+  | O -> Z0
+  | S n1 -> Zpos (Pos.of_succ_nat n1)
+
+  (** val pos_div_eucl : positive -> z -> z * z **)
+
+  let rec pos_div_eucl a b =
+    match a with
+    | XI a' ->
+      let (q, r) = pos_div_eucl a' b in
+      let r' = add (mul (Zpos (XO XH)) r) (Zpos XH) in
+      if ltb r' b
+      then ((mul (Zpos (XO XH)) q), r')
+      else ((add (mul (Zpos (XO XH)) q) (Zpos XH)), (sub r' b))
+    | XO a' ->
+      let (q, r) = pos_div_eucl a' b in
+      let r' = mul (Zpos (XO XH)) r in
+      if ltb r' b
+      then ((mul (Zpos (XO XH)) q), r')
+      else ((add (mul (Zpos (XO XH)) q) (Zpos XH)), (sub r' b))
+    | XH -> if leb (Zpos (XO XH)) b then (Z0, (Zpos XH)) else ((Zpos XH), Z0)
+
+  (** val div_eucl : z -> z -> z * z **)
+
+  let div_eucl a b =
+    match a with
+    | Z0 -> (Z0, Z0)
+    | Zpos a' ->
+      (match b with
+       | Z0 -> (Z0, a)
+       | Zpos _ -> pos_div_eucl a' b
+       | Zneg b' ->
+         let (q, r) = pos_div_eucl a' (Zpos b') in
+         (match r with
+          | Z0 -> ((opp q), Z0)
+          | _ -> ((opp (add q (Zpos XH))), (add b r))))
+    | Zneg a' ->
+      (match b with
+       | Z0 -> (Z0, a)
+       | Zpos _ ->
+         let (q, r) = pos_div_eucl a' b in
+         (match r with
+          | Z0 -> ((opp q), Z0)
+          | _ -> ((opp (add q (Zpos XH))), (sub b r)))
+       | Zneg b' -> let (q, r) = pos_div_eucl a' (Zpos b') in (q, (opp r)))
+
+  (** val modulo : z -> z -> z **)
+
+  let modulo a b =
+    let (_, r) = div_eucl a b in r
  end
 
-type ascii =
-| Ascii of bool * bool * bool * bool * bool * bool * bool * bool
+(** val map : ('a1 -> 'a2) -> 'a1 list -> 'a2 list **)
 
-(** val eqb0 : ascii -> ascii -> bool **)
-
-let eqb0 a b =
-  let Ascii (a0, a1, a2, a3, a4, a5, a6, a7) = a in
-  let Ascii (b0, b1, b2, b3, b4, b5, b6, b7) = b in
-  if if if if if if if eqb a0 b0 then eqb a1 b1 else false
-                 then eqb a2 b2
-                 else false
-              then eqb a3 b3
-              else false
-           then eqb a4 b4
-           else false
-        then eqb a5 b5
-        else false
-     then eqb a6 b6
-     else false
-  then eqb a7 b7
-  else false
-
-type string =
-| EmptyString
-| String of ascii * string
-
-(** val eqb1 : string -> string -> bool **)
-
-let rec eqb1 s1 s2 =
-  match s1 with
-  | EmptyString ->
-    (match s2 with
-     | EmptyString -> true
-     | String (_, _) -> false)
-  | String (c1, s1') ->
-    (match s2 with
-     | EmptyString -> false
-     | String (c2, s2') -> if eqb0 c1 c2 then eqb1 s1' s2' else false)
-
-type bytes = n list
-
-(** val sp : n **)
-
-let sp =
-  Npos (XO (XO (XO (XO (XO XH)))))
-
-(** val zero : n **)
-
-let zero =
-  Npos (XO (XO (XO (XO (XI XH)))))
-
-(** val bytes_eqb : bytes -> bytes -> bool **)
-
-let rec bytes_eqb a b =
-  match a with
-  | [] -> (match b with
-           | [] -> true
-           | _ :: _ -> false)
-  | x :: a' ->
-    (match b with
-     | [] -> false
-     | y :: b' -> (&&) (N.eqb x y) (bytes_eqb a' b'))
-
-(** val rune_error : n **)
-
-let rune_error =
-  Npos (XI (XO (XI (XI (XI (XI (XI (XI (XI (XI (XI (XI (XI (XI (XI
-    XH)))))))))))))))
-
-(** val cont : n -> bool **)
-
-let cont b =
-  (&&) (N.leb (Npos (XO (XO (XO (XO (XO (XO (XO XH)))))))) b)
-    (N.leb b (Npos (XI (XI (XI (XI (XI (XI (XO XH)))))))))
-
-(** val seq_size : n -> nat **)
-
-let seq_size b0 =
-  if N.ltb b0 (Npos (XO (XI (XO (XO (XO (XO (XI XH))))))))
-  then O
-  else if N.leb b0 (Npos (XI (XI (XI (XI (XI (XO (XI XH))))))))
-       then S (S O)
-       else if N.leb b0 (Npos (XI (XI (XI (XI (XO (XI (XI XH))))))))
-            then S (S (S O))
-            else if N.leb b0 (Npos (XO (XO (XI (XO (XI (XI (XI XH))))))))
-                 then S (S (S (S O)))
-                 else O
-
-(** val second_ok : n -> n -> bool **)
-
-let second_ok b0 b1 =
-  if N.eqb b0 (Npos (XO (XO (XO (XO (XO (XI (XI XH))))))))
-  then (&&) (N.leb (Npos (XO (XO (XO (XO (XO (XI (XO XH)))))))) b1)
-         (N.leb b1 (Npos (XI (XI (XI (XI (XI (XI (XO XH)))))))))
-  else if N.eqb b0 (Npos (XI (XO (XI (XI (XO (XI (XI XH))))))))
-       then (&&) (N.leb (Npos (XO (XO (XO (XO (XO (XO (XO XH)))))))) b1)
-              (N.leb b1 (Npos (XI (XI (XI (XI (XI (XO (XO XH)))))))))
-       else if N.eqb b0 (Npos (XO (XO (XO (XO (XI (XI (XI XH))))))))
-            then (&&) (N.leb (Npos (XO (XO (XO (XO (XI (XO (XO XH)))))))) b1)
-                   (N.leb b1 (Npos (XI (XI (XI (XI (XI (XI (XO XH)))))))))
-            else if N.eqb b0 (Npos (XO (XO (XI (XO (XI (XI (XI XH))))))))
-                 then (&&)
-                        (N.leb (Npos (XO (XO (XO (XO (XO (XO (XO XH))))))))
-                          b1)
-                        (N.leb b1 (Npos (XI (XI (XI (XI (XO (XO (XO
-                          XH)))))))))
-                 else cont b1
-
-(** val chunks : bytes -> (n * bytes) list **)
-
-let rec chunks = function
+let rec map f = function
 | [] -> []
-| b0 :: t ->
-  if N.ltb b0 (Npos (XO (XO (XO (XO (XO (XO (XO XH))))))))
-  then (b0, (b0 :: [])) :: (chunks t)
-  else (match seq_size b0 with
-        | O -> (rune_error, (b0 :: [])) :: (chunks t)
-        | S n0 ->
-          (match n0 with
-           | O -> (rune_error, (b0 :: [])) :: (chunks t)
-           | S n1 ->
-             (match n1 with
-              | O ->
-                (match t with
-                 | [] -> (rune_error, (b0 :: [])) :: (chunks t)
-                 | b1 :: t1 ->
-                   if second_ok b0 b1
-                   then ((N.add
-                           (N.mul
-                             (N.sub b0 (Npos (XO (XO (XO (XO (XO (XO (XI
-                               XH))))))))) (Npos (XO (XO (XO (XO (XO (XO
-                             XH))))))))
-                           (N.sub b1 (Npos (XO (XO (XO (XO (XO (XO (XO
-                             XH)))))))))), (b0 :: (b1 :: []))) :: (chunks t1)
-                   else (rune_error, (b0 :: [])) :: (chunks t))
-              | S n2 ->
-                (match n2 with
-                 | O ->
-                   (match t with
-                    | [] -> (rune_error, (b0 :: [])) :: (chunks t)
-                    | b1 :: l0 ->
-                      (match l0 with
-                       | [] -> (rune_error, (b0 :: [])) :: (chunks t)
-                       | b2 :: t2 ->
-                         if (&&) (second_ok b0 b1) (cont b2)
-                         then ((N.add
-                                 (N.add
-                                   (N.mul
-                                     (N.sub b0 (Npos (XO (XO (XO (XO (XO (XI
-                                       (XI XH))))))))) (Npos (XO (XO (XO (XO
-                                     (XO (XO (XO (XO (XO (XO (XO (XO
-                                     XH))))))))))))))
-                                   (N.mul
-                                     (N.sub b1 (Npos (XO (XO (XO (XO (XO (XO
-                                       (XO XH))))))))) (Npos (XO (XO (XO (XO
-                                     (XO (XO XH)))))))))
-                                 (N.sub b2 (Npos (XO (XO (XO (XO (XO (XO (XO
-                                   XH)))))))))),
-                                (b0 :: (b1 :: (b2 :: [])))) :: (chunks t2)
-                         else (rune_error, (b0 :: [])) :: (chunks t)))
-                 | S n3 ->
-                   (match n3 with
-                    | O ->
-                      (match t with
-                       | [] -> (rune_error, (b0 :: [])) :: (chunks t)
-                       | b1 :: l0 ->
-                         (match l0 with
-                          | [] -> (rune_error, (b0 :: [])) :: (chunks t)
-                          | b2 :: l1 ->
-                            (match l1 with
-                             | [] -> (rune_error, (b0 :: [])) :: (chunks t)
-                             | b3 :: t3 ->
-                               if (&&) ((&&) (second_ok b0 b1) (cont b2))
-                                    (cont b3)
-                               then ((N.add
-                                       (N.add
-                                         (N.add
-                                           (N.mul
-                                             (N.sub b0 (Npos (XO (XO (XO (XO
-                                               (XI (XI (XI XH))))))))) (Npos
-                                             (XO (XO (XO (XO (XO (XO (XO (XO
-                                             (XO (XO (XO (XO (XO (XO (XO (XO
-                                             (XO (XO XH))))))))))))))))))))
-                                           (N.mul
-                                             (N.sub b1 (Npos (XO (XO (XO (XO
-                                               (XO (XO (XO XH))))))))) (Npos
-                                             (XO (XO (XO (XO (XO (XO (XO (XO
-                                             (XO (XO (XO (XO XH)))))))))))))))
-                                         (N.mul
-                                           (N.sub b2 (Npos (XO (XO (XO (XO
-                                             (XO (XO (XO XH))))))))) (Npos
-                                           (XO (XO (XO (XO (XO (XO XH)))))))))
-                                       (N.sub b3 (Npos (XO (XO (XO (XO (XO
-                                         (XO (XO XH)))))))))),
-                                      (b0 :: (b1 :: (b2 :: (b3 :: []))))) :: 
-                                      (chunks t3)
-                               else (rune_error, (b0 :: [])) :: (chunks t))))
-                    | S _ -> (rune_error, (b0 :: [])) :: (chunks t))))))
+| a :: t -> (f a) :: (map f t)
 
-(** val runes : bytes -> n list **)
+(** val flat_map : ('a1 -> 'a2 list) -> 'a1 list -> 'a2 list **)
 
-let runes l =
-  map fst (chunks l)
+let rec flat_map f = function
+| [] -> []
+| x :: t -> app (f x) (flat_map f t)
 
-(** val rune_count : bytes -> nat **)
+(** val existsb : ('a1 -> bool) -> 'a1 list -> bool **)
 
-let rune_count l =
-  length (chunks l)
+let rec existsb f = function
+| [] -> false
+| a :: l0 -> (||) (f a) (existsb f l0)
 
-(** val encode_rune : n -> bytes **)
+(** val forallb : ('a1 -> bool) -> 'a1 list -> bool **)
 
-let encode_rune r =
-  if N.ltb r (Npos (XO (XO (XO (XO (XO (XO (XO XH))))))))
-  then r :: []
-  else if N.ltb r (Npos (XO (XO (XO (XO (XO (XO (XO (XO (XO (XO (XO
-            XH))))))))))))
-       then (N.add (Npos (XO (XO (XO (XO (XO (XO (XI XH))))))))
-              (N.div r (Npos (XO (XO (XO (XO (XO (XO XH))))))))) :: (
-              (N.add (Npos (XO (XO (XO (XO (XO (XO (XO XH))))))))
-                (N.modulo r (Npos (XO (XO (XO (XO (XO (XO XH))))))))) :: [])
-       else if (&&)
-                 (N.leb (Npos (XO (XO (XO (XO (XO (XO (XO (XO (XO (XO (XO (XI
-                   (XI (XO (XI XH)))))))))))))))) r)
-                 (N.leb r (Npos (XI (XI (XI (XI (XI (XI (XI (XI (XI (XI (XI
-                   (XI (XI (XO (XI XH)))))))))))))))))
-            then (Npos (XI (XI (XI (XI (XO (XI (XI XH)))))))) :: ((Npos (XI
-                   (XI (XI (XI (XI (XI (XO XH)))))))) :: ((Npos (XI (XO (XI
-                   (XI (XI (XI (XO XH)))))))) :: []))
-            else if N.ltb r (Npos (XO (XO (XO (XO (XO (XO (XO (XO (XO (XO (XO
-                      (XO (XO (XO (XO (XO XH)))))))))))))))))
-                 then (N.add (Npos (XO (XO (XO (XO (XO (XI (XI XH))))))))
-                        (N.div r (Npos (XO (XO (XO (XO (XO (XO (XO (XO (XO
-                          (XO (XO (XO XH))))))))))))))) :: ((N.add (Npos (XO
-                                                              (XO (XO (XO (XO
-                                                              (XO (XO
-                                                              XH))))))))
-                                                              (N.modulo
-                                                                (N.div r
-                                                                  (Npos (XO
-                                                                  (XO (XO (XO
-                                                                  (XO (XO
-                                                                  XH))))))))
-                                                                (Npos (XO (XO
-                                                                (XO (XO (XO
-                                                                (XO XH))))))))) :: (
-                        (N.add (Npos (XO (XO (XO (XO (XO (XO (XO XH))))))))
-                          (N.modulo r (Npos (XO (XO (XO (XO (XO (XO XH))))))))) :: []))
-                 else if N.ltb r (Npos (XO (XO (XO (XO (XO (XO (XO (XO (XO
-                           (XO (XO (XO (XO (XO (XO (XO (XI (XO (XO (XO
-                           XH)))))))))))))))))))))
-                      then (N.add (Npos (XO (XO (XO (XO (XI (XI (XI
-                             XH))))))))
-                             (N.div r (Npos (XO (XO (XO (XO (XO (XO (XO (XO
-                               (XO (XO (XO (XO (XO (XO (XO (XO (XO (XO
-                               XH))))))))))))))))))))) :: ((N.add (Npos (XO
-                                                             (XO (XO (XO (XO
-                                                             (XO (XO
-                                                             XH))))))))
-                                                             (N.modulo
-                                                               (N.div r (Npos
-                                                                 (XO (XO (XO
-                                                                 (XO (XO (XO
-                                                                 (XO (XO (XO
-                                                                 (XO (XO (XO
-                                                                 XH))))))))))))))
-                                                               (Npos (XO (XO
-                                                               (XO (XO (XO
-                                                               (XO XH))))))))) :: (
-                             (N.add (Npos (XO (XO (XO (XO (XO (XO (XO
-                               XH))))))))
-                               (N.modulo
-                                 (N.div r (Npos (XO (XO (XO (XO (XO (XO
-                                   XH)))))))) (Npos (XO (XO (XO (XO (XO (XO
-                                 XH))))))))) :: ((N.add (Npos (XO (XO (XO (XO
-                                                   (XO (XO (XO XH))))))))
-                                                   (N.modulo r (Npos (XO (XO
-                                                     (XO (XO (XO (XO
-                                                     XH))))))))) :: [])))
-                      else (Npos (XI (XI (XI (XI (XO (XI (XI
-                             XH)))))))) :: ((Npos (XI (XI (XI (XI (XI (XI (XO
-                             XH)))))))) :: ((Npos (XI (XO (XI (XI (XI (XI (XO
-                             XH)))))))) :: []))
+let rec forallb f = function
+| [] -> true
+| a :: l0 -> (&&) (f a) (forallb f l0)
 
-(** val encode : n list -> bytes **)
+(** val filter : ('a1 -> bool) -> 'a1 list -> 'a1 list **)
 
-let encode rs =
-  flat_map encode_rune rs
+let rec filter f = function
+| [] -> []
+| x :: l0 -> if f x then x :: (filter f l0) else filter f l0
 
-type seg =
-| SLit of bytes
-| SAlpha of string * nat
-| SNum of string * nat
-| SStr of string * nat
-| SRaw of string
-| SItoa of string
-| SCustom of string * string
-| SUnknown of string
+type target =
+| TCredit
+| TDebit
+| TNone
 
-type cut = { c_lo : nat; c_hi : nat; c_field : string; c_conv : string list;
-             c_const : bytes option }
+(** val target_eqb : target -> target -> bool **)
 
-(** val mkcut : nat -> nat -> string -> string list -> cut **)
+let target_eqb a b =
+  match a with
+  | TCredit -> (match b with
+                | TCredit -> true
+                | _ -> false)
+  | TDebit -> (match b with
+               | TDebit -> true
+               | _ -> false)
+  | TNone -> (match b with
+              | TNone -> true
+              | _ -> false)
 
-let mkcut lo hi f conv =
-  { c_lo = lo; c_hi = hi; c_field = f; c_conv = conv; c_const = None }
+type seg_arm = { sa_codes : z list; sa_target : target; sa_unknown : bool }
 
-(** val mkconst : string -> bytes -> cut **)
+type scc_kind =
+| SSplit of z * z
+| SReuseCredit
+| SReuseDebit
+| SUnknown
 
-let mkconst f bs =
-  { c_lo = O; c_hi = O; c_field = f; c_conv = []; c_const = (Some bs) }
+type scc_arm = { sc_code : z; sc_kind : scc_kind }
 
-type indexing =
-| IRune
-| IByte
+(** val memz : z -> z list -> bool **)
 
-type layout = { l_name : string; l_ix : indexing; l_segs : seg list;
-                l_cuts : cut list }
+let memz c l =
+  existsb (Z.eqb c) l
 
-type value =
-| VS of bytes
-| VI of z
+(** val classify : seg_arm list -> z -> target **)
 
-type recval = (string * value) list
+let rec classify arms c =
+  match arms with
+  | [] -> TNone
+  | a :: r -> if memz c a.sa_codes then a.sa_target else classify r c
 
-(** val lookup : recval -> string -> value option **)
+(** val digit_dir : z -> target **)
 
-let rec lookup r f =
-  match r with
+let digit_dir c =
+  if (||) (Z.ltb c (Zpos (XO (XI (XO XH)))))
+       (Z.ltb (Zpos (XI (XI (XO (XO (XO (XI XH))))))) c)
+  then TNone
+  else let u = Z.modulo c (Zpos (XO (XI (XO XH)))) in
+       if (&&) (Z.leb (Zpos XH) u) (Z.leb u (Zpos (XO (XO XH))))
+       then TCredit
+       else if Z.leb (Zpos (XI (XO XH))) u then TDebit else TNone
+
+(** val entry_code : z list -> z -> bool **)
+
+let entry_code std c =
+  (&&) ((&&) (memz c std) (Z.leb (Zpos (XO (XO (XI (XO XH))))) c))
+    (Z.ltb c (Zpos (XO (XO (XI (XI (XI XH)))))))
+
+type entry = { e_code : z; e_amount : z; e_id : n; e_trace : n }
+
+(** val goes : seg_arm list -> target -> entry -> bool **)
+
+let goes arms t e =
+  target_eqb (classify arms e.e_code) t
+
+(** val sum_dir : seg_arm list -> target -> entry list -> z **)
+
+let rec sum_dir arms t = function
+| [] -> Z0
+| e :: r ->
+  Z.add (if goes arms t e then e.e_amount else Z0) (sum_dir arms t r)
+
+(** val all_dir : target -> entry list -> bool **)
+
+let all_dir t es =
+  forallb (fun e -> target_eqb (digit_dir e.e_code) t) es
+
+type stables = { st_seg_std : seg_arm list; st_seg_iat : seg_arm list;
+                 st_seg_adv : seg_arm list; st_amt_std : seg_arm list;
+                 st_amt_iat : seg_arm list; st_amt_adv : seg_arm list;
+                 st_scc_std : scc_arm list; st_scc_iat : scc_arm list;
+                 st_codes : z list }
+
+(** val scc_lookup : scc_arm list -> z -> scc_kind option **)
+
+let rec scc_lookup arms scc =
+  match arms with
   | [] -> None
-  | p :: r' -> let (g, v) = p in if eqb1 f g then Some v else lookup r' f
+  | a :: r -> if Z.eqb a.sc_code scc then Some a.sc_kind else scc_lookup r scc
 
-(** val gets : recval -> string -> bytes **)
+type sbatch = { sb_adv : bool; sb_scc : z; sb_num : z; sb_ident : n;
+                sb_credit : z; sb_debit : z; sb_entries : entry list }
 
-let gets r f =
-  match lookup r f with
-  | Some v -> (match v with
-               | VS s -> s
-               | VI _ -> [])
+type sfile = { sf_origin : n; sf_dest : n; sf_batches : sbatch list;
+               sf_iat : sbatch list; sf_credit : z; sf_debit : z }
+
+(** val empty_file : sfile **)
+
+let empty_file =
+  { sf_origin = N0; sf_dest = N0; sf_batches = []; sf_iat = []; sf_credit =
+    Z0; sf_debit = Z0 }
+
+(** val dir_of : bool -> target **)
+
+let dir_of = function
+| true -> TCredit
+| false -> TDebit
+
+(** val fresh :
+    seg_arm list -> bool -> z -> n -> entry list -> sbatch list **)
+
+let fresh amt adv scc ident es = match es with
+| [] -> []
+| _ :: _ ->
+  { sb_adv = adv; sb_scc = scc; sb_num = (Zpos XH); sb_ident = ident;
+    sb_credit = (sum_dir amt TCredit es); sb_debit = (sum_dir amt TDebit es);
+    sb_entries = es } :: []
+
+(** val retrace : n -> entry list -> entry list **)
+
+let rec retrace seq = function
+| [] -> []
+| e :: r ->
+  { e_code = e.e_code; e_amount = e.e_amount; e_id = e.e_id; e_trace =
+    seq } :: (retrace (N.add seq (Npos XH)) r)
+
+(** val part : stables -> bool -> sbatch -> sbatch list **)
+
+let part t cr b =
+  if b.sb_adv
+  then if Z.eqb b.sb_scc (Zpos (XO (XO (XO (XI (XI (XO (XO (XO XH)))))))))
+       then fresh t.st_amt_adv true (Zpos (XO (XO (XO (XI (XI (XO (XO (XO
+              XH))))))))) b.sb_ident
+              (filter (goes t.st_seg_adv (dir_of cr)) b.sb_entries)
+       else []
+  else (match scc_lookup t.st_scc_std b.sb_scc with
+        | Some s ->
+          (match s with
+           | SSplit (c, d) ->
+             fresh t.st_amt_std false (if cr then c else d) b.sb_ident
+               (filter (goes t.st_seg_std (dir_of cr)) b.sb_entries)
+           | SReuseCredit -> if cr then b :: [] else []
+           | SReuseDebit -> if cr then [] else b :: []
+           | SUnknown -> [])
+        | None -> [])
+
+(** val ipart : stables -> bool -> sbatch -> sbatch list **)
+
+let ipart t cr b =
+  match scc_lookup t.st_scc_iat b.sb_scc with
+  | Some s ->
+    (match s with
+     | SSplit (c, d) ->
+       fresh t.st_amt_iat false (if cr then c else d) b.sb_ident
+         (retrace (Npos XH)
+           (filter (goes t.st_seg_iat (dir_of cr)) b.sb_entries))
+     | SReuseCredit -> if cr then b :: [] else []
+     | SReuseDebit -> if cr then [] else b :: []
+     | SUnknown -> [])
   | None -> []
 
-(** val geti : recval -> string -> z **)
+(** val renumber : z -> sbatch list -> sbatch list **)
 
-let geti r f =
-  match lookup r f with
-  | Some v -> (match v with
-               | VS _ -> Z0
-               | VI z0 -> z0)
-  | None -> Z0
-
-(** val spaces : nat -> bytes **)
-
-let spaces n0 =
-  repeat sp n0
-
-(** val zeros : nat -> bytes **)
-
-let zeros n0 =
-  repeat zero n0
-
-(** val is_space : n -> bool **)
-
-let is_space r =
-  (||)
-    ((||)
-      ((||)
-        ((||)
-          ((||)
-            ((||)
-              ((||)
-                ((||)
-                  ((||)
-                    ((||)
-                      ((&&) (N.leb (Npos (XI (XO (XO XH)))) r)
-                        (N.leb r (Npos (XI (XO (XI XH))))))
-                      (N.eqb r (Npos (XO (XO (XO (XO (XO XH))))))))
-                    (N.eqb r (Npos (XI (XO (XI (XO (XO (XO (XO XH))))))))))
-                  (N.eqb r (Npos (XO (XO (XO (XO (XO (XI (XO XH))))))))))
-                (N.eqb r (Npos (XO (XO (XO (XO (XO (XO (XO (XI (XO (XI (XI
-                  (XO XH)))))))))))))))
-              ((&&)
-                (N.leb (Npos (XO (XO (XO (XO (XO (XO (XO (XO (XO (XO (XO (XO
-                  (XO XH)))))))))))))) r)
-                (N.leb r (Npos (XO (XI (XO (XI (XO (XO (XO (XO (XO (XO (XO
-                  (XO (XO XH)))))))))))))))))
-            (N.eqb r (Npos (XO (XO (XO (XI (XO (XI (XO (XO (XO (XO (XO (XO
-              (XO XH))))))))))))))))
-          (N.eqb r (Npos (XI (XO (XO (XI (XO (XI (XO (XO (XO (XO (XO (XO (XO
-            XH))))))))))))))))
-        (N.eqb r (Npos (XI (XI (XI (XI (XO (XI (XO (XO (XO (XO (XO (XO (XO
-          XH))))))))))))))))
-      (N.eqb r (Npos (XI (XI (XI (XI (XI (XO (XI (XO (XO (XO (XO (XO (XO
-        XH))))))))))))))))
-    (N.eqb r (Npos (XO (XO (XO (XO (XO (XO (XO (XO (XO (XO (XO (XO (XI
-      XH)))))))))))))))
-
-(** val drop_space : (n * bytes) list -> (n * bytes) list **)
-
-let rec drop_space cs = match cs with
+let rec renumber seq = function
 | [] -> []
-| p :: rest -> let (r, _) = p in if is_space r then drop_space rest else cs
-
-(** val trim : bytes -> bytes **)
-
-let trim s =
-  concat (map snd (rev (drop_space (rev (drop_space (chunks s))))))
-
-(** val rune_prefix : nat -> bytes -> bytes **)
-
-let rune_prefix w s =
-  encode (firstn w (runes s))
-
-(** val alphaField : bytes -> nat -> bytes **)
-
-let alphaField s w =
-  let n0 = rune_count s in
-  if Nat.ltb w n0 then rune_prefix w s else app s (spaces (sub w n0))
-
-(** val stringField : bytes -> nat -> bytes **)
-
-let stringField s w =
-  let n0 = rune_count s in
-  if Nat.ltb w n0 then rune_prefix w s else app (zeros (sub w n0)) s
-
-(** val digits_fuel : nat -> n -> bytes -> bytes **)
-
-let rec digits_fuel fuel n0 acc =
-  match fuel with
-  | O -> acc
-  | S k ->
-    if N.ltb n0 (Npos (XO (XI (XO XH))))
-    then (N.add (Npos (XO (XO (XO (XO (XI XH)))))) n0) :: acc
-    else digits_fuel k (N.div n0 (Npos (XO (XI (XO XH)))))
-           ((N.add (Npos (XO (XO (XO (XO (XI XH))))))
-              (N.modulo n0 (Npos (XO (XI (XO XH)))))) :: acc)
-
-(** val digits : n -> bytes **)
-
-let digits n0 =
-  digits_fuel (S (N.to_nat (N.log2 n0))) n0 []
-
-(** val itoa : z -> bytes **)
-
-let itoa = function
-| Z0 -> (Npos (XO (XO (XO (XO (XI XH)))))) :: []
-| Zpos p -> digits (Npos p)
-| Zneg p -> (Npos (XI (XO (XI (XI (XO XH)))))) :: (digits (Npos p))
-
-(** val numericField : z -> nat -> bytes **)
-
-let numericField z0 w =
-  let s = itoa z0 in
-  let l = length s in
-  if Nat.ltb w l then skipn (sub l w) s else app (zeros (sub w l)) s
-
-(** val is_digit : n -> bool **)
-
-let is_digit b =
-  (&&) (N.leb (Npos (XO (XO (XO (XO (XI XH)))))) b)
-    (N.leb b (Npos (XI (XO (XO (XI (XI XH)))))))
-
-(** val digits_val : bytes -> z -> z **)
-
-let rec digits_val s acc =
-  match s with
-  | [] -> acc
-  | b :: t ->
-    digits_val t
-      (Z.add (Z.mul acc (Zpos (XO (XI (XO XH)))))
-        (Z.of_N (N.sub b (Npos (XO (XO (XO (XO (XI XH)))))))))
-
-(** val max_int64 : z **)
-
-let max_int64 =
-  Zpos (XI (XI (XI (XI (XI (XI (XI (XI (XI (XI (XI (XI (XI (XI (XI (XI (XI
-    (XI (XI (XI (XI (XI (XI (XI (XI (XI (XI (XI (XI (XI (XI (XI (XI (XI (XI
-    (XI (XI (XI (XI (XI (XI (XI (XI (XI (XI (XI (XI (XI (XI (XI (XI (XI (XI
-    (XI (XI (XI (XI (XI (XI (XI (XI (XI
-    XH))))))))))))))))))))))))))))))))))))))))))))))))))))))))))))))
-
-(** val min_int64 : z **)
-
-let min_int64 =
-  Zneg (XO (XO (XO (XO (XO (XO (XO (XO (XO (XO (XO (XO (XO (XO (XO (XO (XO
-    (XO (XO (XO (XO (XO (XO (XO (XO (XO (XO (XO (XO (XO (XO (XO (XO (XO (XO
-    (XO (XO (XO (XO (XO (XO (XO (XO (XO (XO (XO (XO (XO (XO (XO (XO (XO (XO
-    (XO (XO (XO (XO (XO (XO (XO (XO (XO (XO
-    XH)))))))))))))))))))))))))))))))))))))))))))))))))))))))))))))))
-
-(** val atoi : bytes -> z **)
-
-let atoi s = match s with
-| [] ->
-  let neg = false in
-  (match s with
-   | [] -> Z0
-   | _ :: _ ->
-     if forallb is_digit s
-     then let v = digits_val s Z0 in
-          if neg
-          then if Z.leb min_int64 (Z.opp v) then Z.opp v else min_int64
-          else if Z.leb v max_int64 then v else max_int64
-     else Z0)
-| n0 :: t ->
-  (match n0 with
-   | N0 ->
-     let neg = false in
-     (match s with
-      | [] -> Z0
-      | _ :: _ ->
-        if forallb is_digit s
-        then let v = digits_val s Z0 in
-             if neg
-             then if Z.leb min_int64 (Z.opp v) then Z.opp v else min_int64
-             else if Z.leb v max_int64 then v else max_int64
-        else Z0)
-   | Npos p ->
-     (match p with
-      | XI p0 ->
-        (match p0 with
-         | XI p1 ->
-           (match p1 with
-            | XO p2 ->
-              (match p2 with
-               | XI p3 ->
-                 (match p3 with
-                  | XO p4 ->
-                    (match p4 with
-                     | XH ->
-                       let neg = false in
-                       (match t with
-                        | [] -> Z0
-                        | _ :: _ ->
-                          if forallb is_digit t
-                          then let v = digits_val t Z0 in
-                               if neg
-                               then if Z.leb min_int64 (Z.opp v)
-                                    then Z.opp v
-                                    else min_int64
-                               else if Z.leb v max_int64 then v else max_int64
-                          else Z0)
-                     | _ ->
-                       let neg = false in
-                       (match s with
-                        | [] -> Z0
-                        | _ :: _ ->
-                          if forallb is_digit s
-                          then let v = digits_val s Z0 in
-                               if neg
-                               then if Z.leb min_int64 (Z.opp v)
-                                    then Z.opp v
-                                    else min_int64
-                               else if Z.leb v max_int64 then v else max_int64
-                          else Z0))
-                  | _ ->
-                    let neg = false in
-                    (match s with
-                     | [] -> Z0
-                     | _ :: _ ->
-                       if forallb is_digit s
-                       then let v = digits_val s Z0 in
-                            if neg
-                            then if Z.leb min_int64 (Z.opp v)
-                                 then Z.opp v
-                                 else min_int64
-                            else if Z.leb v max_int64 then v else max_int64
-                       else Z0))
-               | _ ->
-                 let neg = false in
-                 (match s with
-                  | [] -> Z0
-                  | _ :: _ ->
-                    if forallb is_digit s
-                    then let v = digits_val s Z0 in
-                         if neg
-                         then if Z.leb min_int64 (Z.opp v)
-                              then Z.opp v
-                              else min_int64
-                         else if Z.leb v max_int64 then v else max_int64
-                    else Z0))
-            | _ ->
-              let neg = false in
-              (match s with
-               | [] -> Z0
-               | _ :: _ ->
-                 if forallb is_digit s
-                 then let v = digits_val s Z0 in
-                      if neg
-                      then if Z.leb min_int64 (Z.opp v)
-                           then Z.opp v
-                           else min_int64
-                      else if Z.leb v max_int64 then v else max_int64
-                 else Z0))
-         | XO p1 ->
-           (match p1 with
-            | XI p2 ->
-              (match p2 with
-               | XI p3 ->
-                 (match p3 with
-                  | XO p4 ->
-                    (match p4 with
-                     | XH ->
-                       let neg = true in
-                       (match t with
-                        | [] -> Z0
-                        | _ :: _ ->
-                          if forallb is_digit t
-                          then let v = digits_val t Z0 in
-                               if neg
-                               then if Z.leb min_int64 (Z.opp v)
-                                    then Z.opp v
-                                    else min_int64
-                               else if Z.leb v max_int64 then v else max_int64
-                          else Z0)
-                     | _ ->
-                       let neg = false in
-                       (match s with
-                        | [] -> Z0
-                        | _ :: _ ->
-                          if forallb is_digit s
-                          then let v = digits_val s Z0 in
-                               if neg
-                               then if Z.leb min_int64 (Z.opp v)
-                                    then Z.opp v
-                                    else min_int64
-                               else if Z.leb v max_int64 then v else max_int64
-                          else Z0))
-                  | _ ->
-                    let neg = false in
-                    (match s with
-                     | [] -> Z0
-                     | _ :: _ ->
-                       if forallb is_digit s
-                       then let v = digits_val s Z0 in
-                            if neg
-                            then if Z.leb min_int64 (Z.opp v)
-                                 then Z.opp v
-                                 else min_int64
-                            else if Z.leb v max_int64 then v else max_int64
-                       else Z0))
-               | _ ->
-                 let neg = false in
-                 (match s with
-                  | [] -> Z0
-                  | _ :: _ ->
-                    if forallb is_digit s
-                    then let v = digits_val s Z0 in
-                         if neg
-                         then if Z.leb min_int64 (Z.opp v)
-                              then Z.opp v
-                              else min_int64
-                         else if Z.leb v max_int64 then v else max_int64
-                    else Z0))
-            | _ ->
-              let neg = false in
-              (match s with
-               | [] -> Z0
-               | _ :: _ ->
-                 if forallb is_digit s
-                 then let v = digits_val s Z0 in
-                      if neg
-                      then if Z.leb min_int64 (Z.opp v)
-                           then Z.opp v
-                           else min_int64
-                      else if Z.leb v max_int64 then v else max_int64
-                 else Z0))
-         | XH ->
-           let neg = false in
-           (match s with
-            | [] -> Z0
-            | _ :: _ ->
-              if forallb is_digit s
-              then let v = digits_val s Z0 in
-                   if neg
-                   then if Z.leb min_int64 (Z.opp v)
-                        then Z.opp v
-                        else min_int64
-                   else if Z.leb v max_int64 then v else max_int64
-              else Z0))
-      | _ ->
-        let neg = false in
-        (match s with
-         | [] -> Z0
-         | _ :: _ ->
-           if forallb is_digit s
-           then let v = digits_val s Z0 in
-                if neg
-                then if Z.leb min_int64 (Z.opp v) then Z.opp v else min_int64
-                else if Z.leb v max_int64 then v else max_int64
-           else Z0)))
-
-(** val atoi_opt : bytes -> z option **)
-
-let atoi_opt s = match s with
-| [] ->
-  let neg = false in
-  (match s with
-   | [] -> None
-   | _ :: _ ->
-     if forallb is_digit s
-     then let v = digits_val s Z0 in
-          if neg
-          then if Z.leb min_int64 (Z.opp v) then Some (Z.opp v) else None
-          else if Z.leb v max_int64 then Some v else None
-     else None)
-| n0 :: t ->
-  (match n0 with
-   | N0 ->
-     let neg = false in
-     (match s with
-      | [] -> None
-      | _ :: _ ->
-        if forallb is_digit s
-        then let v = digits_val s Z0 in
-             if neg
-             then if Z.leb min_int64 (Z.opp v) then Some (Z.opp v) else None
-             else if Z.leb v max_int64 then Some v else None
-        else None)
-   | Npos p ->
-     (match p with
-      | XI p0 ->
-        (match p0 with
-         | XI p1 ->
-           (match p1 with
-            | XO p2 ->
-              (match p2 with
-               | XI p3 ->
-                 (match p3 with
-                  | XO p4 ->
-                    (match p4 with
-                     | XH ->
-                       let neg = false in
-                       (match t with
-                        | [] -> None
-                        | _ :: _ ->
-                          if forallb is_digit t
-                          then let v = digits_val t Z0 in
-                               if neg
-                               then if Z.leb min_int64 (Z.opp v)
-                                    then Some (Z.opp v)
-                                    else None
-                               else if Z.leb v max_int64 then Some v else None
-                          else None)
-                     | _ ->
-                       let neg = false in
-                       (match s with
-                        | [] -> None
-                        | _ :: _ ->
-                          if forallb is_digit s
-                          then let v = digits_val s Z0 in
-                               if neg
-                               then if Z.leb min_int64 (Z.opp v)
-                                    then Some (Z.opp v)
-                                    else None
-                               else if Z.leb v max_int64 then Some v else None
-                          else None))
-                  | _ ->
-                    let neg = false in
-                    (match s with
-                     | [] -> None
-                     | _ :: _ ->
-                       if forallb is_digit s
-                       then let v = digits_val s Z0 in
-                            if neg
-                            then if Z.leb min_int64 (Z.opp v)
-                                 then Some (Z.opp v)
-                                 else None
-                            else if Z.leb v max_int64 then Some v else None
-                       else None))
-               | _ ->
-                 let neg = false in
-                 (match s with
-                  | [] -> None
-                  | _ :: _ ->
-                    if forallb is_digit s
-                    then let v = digits_val s Z0 in
-                         if neg
-                         then if Z.leb min_int64 (Z.opp v)
-                              then Some (Z.opp v)
-                              else None
-                         else if Z.leb v max_int64 then Some v else None
-                    else None))
-            | _ ->
-              let neg = false in
-              (match s with
-               | [] -> None
-               | _ :: _ ->
-                 if forallb is_digit s
-                 then let v = digits_val s Z0 in
-                      if neg
-                      then if Z.leb min_int64 (Z.opp v)
-                           then Some (Z.opp v)
-                           else None
-                      else if Z.leb v max_int64 then Some v else None
-                 else None))
-         | XO p1 ->
-           (match p1 with
-            | XI p2 ->
-              (match p2 with
-               | XI p3 ->
-                 (match p3 with
-                  | XO p4 ->
-                    (match p4 with
-                     | XH ->
-                       let neg = true in
-                       (match t with
-                        | [] -> None
-                        | _ :: _ ->
-                          if forallb is_digit t
-                          then let v = digits_val t Z0 in
-                               if neg
-                               then if Z.leb min_int64 (Z.opp v)
-                                    then Some (Z.opp v)
-                                    else None
-                               else if Z.leb v max_int64 then Some v else None
-                          else None)
-                     | _ ->
-                       let neg = false in
-                       (match s with
-                        | [] -> None
-                        | _ :: _ ->
-                          if forallb is_digit s
-                          then let v = digits_val s Z0 in
-                               if neg
-                               then if Z.leb min_int64 (Z.opp v)
-                                    then Some (Z.opp v)
-                                    else None
-                               else if Z.leb v max_int64 then Some v else None
-                          else None))
-                  | _ ->
-                    let neg = false in
-                    (match s with
-                     | [] -> None
-                     | _ :: _ ->
-                       if forallb is_digit s
-                       then let v = digits_val s Z0 in
-                            if neg
-                            then if Z.leb min_int64 (Z.opp v)
-                                 then Some (Z.opp v)
-                                 else None
-                            else if Z.leb v max_int64 then Some v else None
-                       else None))
-               | _ ->
-                 let neg = false in
-                 (match s with
-                  | [] -> None
-                  | _ :: _ ->
-                    if forallb is_digit s
-                    then let v = digits_val s Z0 in
-                         if neg
-                         then if Z.leb min_int64 (Z.opp v)
-                              then Some (Z.opp v)
-                              else None
-                         else if Z.leb v max_int64 then Some v else None
-                    else None))
-            | _ ->
-              let neg = false in
-              (match s with
-               | [] -> None
-               | _ :: _ ->
-                 if forallb is_digit s
-                 then let v = digits_val s Z0 in
-                      if neg
-                      then if Z.leb min_int64 (Z.opp v)
-                           then Some (Z.opp v)
-                           else None
-                      else if Z.leb v max_int64 then Some v else None
-                 else None))
-         | XH ->
-           let neg = false in
-           (match s with
-            | [] -> None
-            | _ :: _ ->
-              if forallb is_digit s
-              then let v = digits_val s Z0 in
-                   if neg
-                   then if Z.leb min_int64 (Z.opp v)
-                        then Some (Z.opp v)
-                        else None
-                   else if Z.leb v max_int64 then Some v else None
-              else None))
-      | _ ->
-        let neg = false in
-        (match s with
-         | [] -> None
-         | _ :: _ ->
-           if forallb is_digit s
-           then let v = digits_val s Z0 in
-                if neg
-                then if Z.leb min_int64 (Z.opp v)
-                     then Some (Z.opp v)
-                     else None
-                else if Z.leb v max_int64 then Some v else None
-           else None)))
-
-(** val parseNumField : bytes -> z **)
-
-let parseNumField s =
-  atoi (trim s)
-
-(** val aUTOENROLL : bytes **)
-
-let aUTOENROLL =
-  (Npos (XI (XO (XO (XO (XO (XO XH))))))) :: ((Npos (XI (XO (XI (XO (XI (XO
-    XH))))))) :: ((Npos (XO (XO (XI (XO (XI (XO XH))))))) :: ((Npos (XI (XI
-    (XI (XI (XO (XO XH))))))) :: ((Npos (XI (XO (XI (XO (XO (XO
-    XH))))))) :: ((Npos (XO (XI (XI (XI (XO (XO XH))))))) :: ((Npos (XO (XI
-    (XO (XO (XI (XO XH))))))) :: ((Npos (XI (XI (XI (XI (XO (XO
-    XH))))))) :: ((Npos (XO (XO (XI (XI (XO (XO XH))))))) :: ((Npos (XO (XO
-    (XI (XI (XO (XO XH))))))) :: [])))))))))
-
-(** val eNR : bytes **)
-
-let eNR =
-  (Npos (XI (XO (XI (XO (XO (XO XH))))))) :: ((Npos (XO (XI (XI (XI (XO (XO
-    XH))))))) :: ((Npos (XO (XI (XO (XO (XI (XO XH))))))) :: []))
-
-(** val render_custom : string -> recval -> bytes option **)
-
-let render_custom name r =
-  if eqb1 name (String ((Ascii (true, false, false, false, false, false,
-       true, false)), (String ((Ascii (false, false, true, false, false,
-       true, true, false)), (String ((Ascii (false, false, true, false,
-       false, true, true, false)), (String ((Ascii (true, false, true, false,
-       false, true, true, false)), (String ((Ascii (false, true, true, true,
-       false, true, true, false)), (String ((Ascii (false, false, true,
-       false, false, true, true, false)), (String ((Ascii (true, false,
-       false, false, false, true, true, false)), (String ((Ascii (true,
-       false, false, true, true, true, false, false)), (String ((Ascii (true,
-       false, false, true, true, true, false, false)), (String ((Ascii
-       (false, true, true, true, false, true, false, false)), (String ((Ascii
-       (false, false, true, false, false, false, true, false)), (String
-       ((Ascii (true, false, false, false, false, true, true, false)),
-       (String ((Ascii (false, false, true, false, true, true, true, false)),
-       (String ((Ascii (true, false, true, false, false, true, true, false)),
-       (String ((Ascii (true, true, true, true, false, false, true, false)),
-       (String ((Ascii (false, true, true, false, false, true, true, false)),
-       (String ((Ascii (false, false, true, false, false, false, true,
-       false)), (String ((Ascii (true, false, true, false, false, true, true,
-       false)), (String ((Ascii (true, false, false, false, false, true,
-       true, false)), (String ((Ascii (false, false, true, false, true, true,
-       true, false)), (String ((Ascii (false, false, false, true, false,
-       true, true, false)), (String ((Ascii (false, true, true, false, false,
-       false, true, false)), (String ((Ascii (true, false, false, true,
-       false, true, true, false)), (String ((Ascii (true, false, true, false,
-       false, true, true, false)), (String ((Ascii (false, false, true, true,
-       false, true, true, false)), (String ((Ascii (false, false, true,
-       false, false, true, true, false)),
-       EmptyString))))))))))))))))))))))))))))))))))))))))))))))))))))
-  then Some
-         (match gets r (String ((Ascii (false, false, true, false, false,
-                  false, true, false)), (String ((Ascii (true, false, false,
-                  false, false, true, true, false)), (String ((Ascii (false,
-                  false, true, false, true, true, true, false)), (String
-                  ((Ascii (true, false, true, false, false, true, true,
-                  false)), (String ((Ascii (true, true, true, true, false,
-                  false, true, false)), (String ((Ascii (false, true, true,
-                  false, false, true, true, false)), (String ((Ascii (false,
-                  false, true, false, false, false, true, false)), (String
-                  ((Ascii (true, false, true, false, false, true, true,
-                  false)), (String ((Ascii (true, false, false, false, false,
-                  true, true, false)), (String ((Ascii (false, false, true,
-                  false, true, true, true, false)), (String ((Ascii (false,
-                  false, false, true, false, true, true, false)),
-                  EmptyString)))))))))))))))))))))) with
-          | [] -> spaces (S (S (S (S (S (S O))))))
-          | n0 :: l -> n0 :: l)
-  else if eqb1 name (String ((Ascii (false, true, false, false, false, false,
-            true, false)), (String ((Ascii (true, false, false, false, false,
-            true, true, false)), (String ((Ascii (false, false, true, false,
-            true, true, true, false)), (String ((Ascii (true, true, false,
-            false, false, true, true, false)), (String ((Ascii (false, false,
-            false, true, false, true, true, false)), (String ((Ascii (false,
-            false, false, true, false, false, true, false)), (String ((Ascii
-            (true, false, true, false, false, true, true, false)), (String
-            ((Ascii (true, false, false, false, false, true, true, false)),
-            (String ((Ascii (false, false, true, false, false, true, true,
-            false)), (String ((Ascii (true, false, true, false, false, true,
-            true, false)), (String ((Ascii (false, true, false, false, true,
-            true, true, false)), (String ((Ascii (false, true, true, true,
-            false, true, false, false)), (String ((Ascii (true, false, true,
-            false, false, false, true, false)), (String ((Ascii (false, true,
-            true, false, false, true, true, false)), (String ((Ascii (false,
-            true, true, false, false, true, true, false)), (String ((Ascii
-            (true, false, true, false, false, true, true, false)), (String
-            ((Ascii (true, true, false, false, false, true, true, false)),
-            (String ((Ascii (false, false, true, false, true, true, true,
-            false)), (String ((Ascii (true, false, false, true, false, true,
-            true, false)), (String ((Ascii (false, true, true, false, true,
-            true, true, false)), (String ((Ascii (true, false, true, false,
-            false, true, true, false)), (String ((Ascii (true, false, true,
-            false, false, false, true, false)), (String ((Ascii (false, true,
-            true, true, false, true, true, false)), (String ((Ascii (false,
-            false, true, false, true, true, true, false)), (String ((Ascii
-            (false, true, false, false, true, true, true, false)), (String
-            ((Ascii (true, false, false, true, true, true, true, false)),
-            (String ((Ascii (false, false, true, false, false, false, true,
-            false)), (String ((Ascii (true, false, false, false, false, true,
-            true, false)), (String ((Ascii (false, false, true, false, true,
-            true, true, false)), (String ((Ascii (true, false, true, false,
-            false, true, true, false)), (String ((Ascii (false, true, true,
-            false, false, false, true, false)), (String ((Ascii (true, false,
-            false, true, false, true, true, false)), (String ((Ascii (true,
-            false, true, false, false, true, true, false)), (String ((Ascii
-            (false, false, true, true, false, true, true, false)), (String
-            ((Ascii (false, false, true, false, false, true, true, false)),
-            EmptyString))))))))))))))))))))))))))))))))))))))))))))))))))))))))))))))))))))))
-       then Some
-              (if (&&)
-                    (bytes_eqb
-                      (gets r (String ((Ascii (true, true, false, false,
-                        false, false, true, false)), (String ((Ascii (true,
-                        true, true, true, false, true, true, false)), (String
-                        ((Ascii (true, false, true, true, false, true, true,
-                        false)), (String ((Ascii (false, false, false, false,
-                        true, true, true, false)), (String ((Ascii (true,
-                        false, false, false, false, true, true, false)),
-                        (String ((Ascii (false, true, true, true, false,
-                        true, true, false)), (String ((Ascii (true, false,
-                        false, true, true, true, true, false)), (String
-                        ((Ascii (true, false, true, false, false, false,
-                        true, false)), (String ((Ascii (false, true, true,
-                        true, false, true, true, false)), (String ((Ascii
-                        (false, false, true, false, true, true, true,
-                        false)), (String ((Ascii (false, true, false, false,
-                        true, true, true, false)), (String ((Ascii (true,
-                        false, false, true, true, true, true, false)),
-                        (String ((Ascii (false, false, true, false, false,
-                        false, true, false)), (String ((Ascii (true, false,
-                        true, false, false, true, true, false)), (String
-                        ((Ascii (true, true, false, false, true, true, true,
-                        false)), (String ((Ascii (true, true, false, false,
-                        false, true, true, false)), (String ((Ascii (false,
-                        true, false, false, true, true, true, false)),
-                        (String ((Ascii (true, false, false, true, false,
-                        true, true, false)), (String ((Ascii (false, false,
-                        false, false, true, true, true, false)), (String
-                        ((Ascii (false, false, true, false, true, true, true,
-                        false)), (String ((Ascii (true, false, false, true,
-                        false, true, true, false)), (String ((Ascii (true,
-                        true, true, true, false, true, true, false)), (String
-                        ((Ascii (false, true, true, true, false, true, true,
-                        false)),
-                        EmptyString)))))))))))))))))))))))))))))))))))))))))))))))
-                      aUTOENROLL)
-                    (bytes_eqb
-                      (gets r (String ((Ascii (true, true, false, false,
-                        true, false, true, false)), (String ((Ascii (false,
-                        false, true, false, true, true, true, false)),
-                        (String ((Ascii (true, false, false, false, false,
-                        true, true, false)), (String ((Ascii (false, true,
-                        true, true, false, true, true, false)), (String
-                        ((Ascii (false, false, true, false, false, true,
-                        true, false)), (String ((Ascii (true, false, false,
-                        false, false, true, true, false)), (String ((Ascii
-                        (false, true, false, false, true, true, true,
-                        false)), (String ((Ascii (false, false, true, false,
-                        false, true, true, false)), (String ((Ascii (true,
-                        false, true, false, false, false, true, false)),
-                        (String ((Ascii (false, true, true, true, false,
-                        true, true, false)), (String ((Ascii (false, false,
-                        true, false, true, true, true, false)), (String
-                        ((Ascii (false, true, false, false, true, true, true,
-                        false)), (String ((Ascii (true, false, false, true,
-                        true, true, true, false)), (String ((Ascii (true,
-                        true, false, false, false, false, true, false)),
-                        (String ((Ascii (false, false, true, true, false,
-                        true, true, false)), (String ((Ascii (true, false,
-                        false, false, false, true, true, false)), (String
-                        ((Ascii (true, true, false, false, true, true, true,
-                        false)), (String ((Ascii (true, true, false, false,
-                        true, true, true, false)), (String ((Ascii (true,
-                        true, false, false, false, false, true, false)),
-                        (String ((Ascii (true, true, true, true, false, true,
-                        true, false)), (String ((Ascii (false, false, true,
-                        false, false, true, true, false)), (String ((Ascii
-                        (true, false, true, false, false, true, true,
-                        false)),
-                        EmptyString)))))))))))))))))))))))))))))))))))))))))))))
-                      eNR)
-               then spaces (S (S (S (S (S (S O))))))
-               else stringField
-                      (gets r (String ((Ascii (true, false, true, false,
-                        false, false, true, false)), (String ((Ascii (false,
-                        true, true, false, false, true, true, false)),
-                        (String ((Ascii (false, true, true, false, false,
-                        true, true, false)), (String ((Ascii (true, false,
-                        true, false, false, true, true, false)), (String
-                        ((Ascii (true, true, false, false, false, true, true,
-                        false)), (String ((Ascii (false, false, true, false,
-                        true, true, true, false)), (String ((Ascii (true,
-                        false, false, true, false, true, true, false)),
-                        (String ((Ascii (false, true, true, false, true,
-                        true, true, false)), (String ((Ascii (true, false,
-                        true, false, false, true, true, false)), (String
-                        ((Ascii (true, false, true, false, false, false,
-                        true, false)), (String ((Ascii (false, true, true,
-                        true, false, true, true, false)), (String ((Ascii
-                        (false, false, true, false, true, true, true,
-                        false)), (String ((Ascii (false, true, false, false,
-                        true, true, true, false)), (String ((Ascii (true,
-                        false, false, true, true, true, true, false)),
-                        (String ((Ascii (false, false, true, false, false,
-                        false, true, false)), (String ((Ascii (true, false,
-                        false, false, false, true, true, false)), (String
-                        ((Ascii (false, false, true, false, true, true, true,
-                        false)), (String ((Ascii (true, false, true, false,
-                        false, true, true, false)),
-                        EmptyString))))))))))))))))))))))))))))))))))))) (S
-                      (S (S (S (S (S O)))))))
-       else if eqb1 name (String ((Ascii (false, true, true, false, false,
-                 false, true, false)), (String ((Ascii (true, false, false,
-                 true, false, true, true, false)), (String ((Ascii (false,
-                 false, true, true, false, true, true, false)), (String
-                 ((Ascii (true, false, true, false, false, true, true,
-                 false)), (String ((Ascii (false, false, false, true, false,
-                 false, true, false)), (String ((Ascii (true, false, true,
-                 false, false, true, true, false)), (String ((Ascii (true,
-                 false, false, false, false, true, true, false)), (String
-                 ((Ascii (false, false, true, false, false, true, true,
-                 false)), (String ((Ascii (true, false, true, false, false,
-                 true, true, false)), (String ((Ascii (false, true, false,
-                 false, true, true, true, false)), (String ((Ascii (false,
-                 true, true, true, false, true, false, false)), (String
-                 ((Ascii (true, false, false, true, false, false, true,
-                 false)), (String ((Ascii (true, false, true, true, false,
-                 true, true, false)), (String ((Ascii (true, false, true,
-                 true, false, true, true, false)), (String ((Ascii (true,
-                 false, true, false, false, true, true, false)), (String
-                 ((Ascii (false, false, true, false, false, true, true,
-                 false)), (String ((Ascii (true, false, false, true, false,
-                 true, true, false)), (String ((Ascii (true, false, false,
-                 false, false, true, true, false)), (String ((Ascii (false,
-                 false, true, false, true, true, true, false)), (String
-                 ((Ascii (true, false, true, false, false, true, true,
-                 false)), (String ((Ascii (false, false, true, false, false,
-                 false, true, false)), (String ((Ascii (true, false, true,
-                 false, false, true, true, false)), (String ((Ascii (true,
-                 true, false, false, true, true, true, false)), (String
-                 ((Ascii (false, false, true, false, true, true, true,
-                 false)), (String ((Ascii (true, false, false, true, false,
-                 true, true, false)), (String ((Ascii (false, true, true,
-                 true, false, true, true, false)), (String ((Ascii (true,
-                 false, false, false, false, true, true, false)), (String
-                 ((Ascii (false, false, true, false, true, true, true,
-                 false)), (String ((Ascii (true, false, false, true, false,
-                 true, true, false)), (String ((Ascii (true, true, true,
-                 true, false, true, true, false)), (String ((Ascii (false,
-                 true, true, true, false, true, true, false)), (String
-                 ((Ascii (false, true, true, false, false, false, true,
-                 false)), (String ((Ascii (true, false, false, true, false,
-                 true, true, false)), (String ((Ascii (true, false, true,
-                 false, false, true, true, false)), (String ((Ascii (false,
-                 false, true, true, false, true, true, false)), (String
-                 ((Ascii (false, false, true, false, false, true, true,
-                 false)),
-                 EmptyString))))))))))))))))))))))))))))))))))))))))))))))))))))))))))))))))))))))))
-            then Some
-                   (match gets r (String ((Ascii (true, false, false, true,
-                            false, false, true, false)), (String ((Ascii
-                            (true, false, true, true, false, true, true,
-                            false)), (String ((Ascii (true, false, true,
-                            true, false, true, true, false)), (String ((Ascii
-                            (true, false, true, false, false, true, true,
-                            false)), (String ((Ascii (false, false, true,
-                            false, false, true, true, false)), (String
-                            ((Ascii (true, false, false, true, false, true,
-                            true, false)), (String ((Ascii (true, false,
-                            false, false, false, true, true, false)), (String
-                            ((Ascii (false, false, true, false, true, true,
-                            true, false)), (String ((Ascii (true, false,
-                            true, false, false, true, true, false)), (String
-                            ((Ascii (false, false, true, false, false, false,
-                            true, false)), (String ((Ascii (true, false,
-                            true, false, false, true, true, false)), (String
-                            ((Ascii (true, true, false, false, true, true,
-                            true, false)), (String ((Ascii (false, false,
-                            true, false, true, true, true, false)), (String
-                            ((Ascii (true, false, false, true, false, true,
-                            true, false)), (String ((Ascii (false, true,
-                            true, true, false, true, true, false)), (String
-                            ((Ascii (true, false, false, false, false, true,
-                            true, false)), (String ((Ascii (false, false,
-                            true, false, true, true, true, false)), (String
-                            ((Ascii (true, false, false, true, false, true,
-                            true, false)), (String ((Ascii (true, true, true,
-                            true, false, true, true, false)), (String ((Ascii
-                            (false, true, true, true, false, true, true,
-                            false)),
-                            EmptyString)))))))))))))))))))))))))))))))))))))))) with
-                    | [] -> spaces (S (S (S (S (S (S (S (S (S (S O))))))))))
-                    | n0 :: l ->
-                      sp :: (stringField (trim (n0 :: l)) (S (S (S (S (S (S
-                              (S (S (S O)))))))))))
-            else if eqb1 name (String ((Ascii (false, true, true, false,
-                      false, false, true, false)), (String ((Ascii (true,
-                      false, false, true, false, true, true, false)), (String
-                      ((Ascii (false, false, true, true, false, true, true,
-                      false)), (String ((Ascii (true, false, true, false,
-                      false, true, true, false)), (String ((Ascii (false,
-                      false, false, true, false, false, true, false)),
-                      (String ((Ascii (true, false, true, false, false, true,
-                      true, false)), (String ((Ascii (true, false, false,
-                      false, false, true, true, false)), (String ((Ascii
-                      (false, false, true, false, false, true, true, false)),
-                      (String ((Ascii (true, false, true, false, false, true,
-                      true, false)), (String ((Ascii (false, true, false,
-                      false, true, true, true, false)), (String ((Ascii
-                      (false, true, true, true, false, true, false, false)),
-                      (String ((Ascii (true, false, false, true, false,
-                      false, true, false)), (String ((Ascii (true, false,
-                      true, true, false, true, true, false)), (String ((Ascii
-                      (true, false, true, true, false, true, true, false)),
-                      (String ((Ascii (true, false, true, false, false, true,
-                      true, false)), (String ((Ascii (false, false, true,
-                      false, false, true, true, false)), (String ((Ascii
-                      (true, false, false, true, false, true, true, false)),
-                      (String ((Ascii (true, false, false, false, false,
-                      true, true, false)), (String ((Ascii (false, false,
-                      true, false, true, true, true, false)), (String ((Ascii
-                      (true, false, true, false, false, true, true, false)),
-                      (String ((Ascii (true, true, true, true, false, false,
-                      true, false)), (String ((Ascii (false, true, false,
-                      false, true, true, true, false)), (String ((Ascii
-                      (true, false, false, true, false, true, true, false)),
-                      (String ((Ascii (true, true, true, false, false, true,
-                      true, false)), (String ((Ascii (true, false, false,
-                      true, false, true, true, false)), (String ((Ascii
-                      (false, true, true, true, false, true, true, false)),
-                      (String ((Ascii (false, true, true, false, false,
-                      false, true, false)), (String ((Ascii (true, false,
-                      false, true, false, true, true, false)), (String
-                      ((Ascii (true, false, true, false, false, true, true,
-                      false)), (String ((Ascii (false, false, true, true,
-                      false, true, true, false)), (String ((Ascii (false,
-                      false, true, false, false, true, true, false)),
-                      EmptyString))))))))))))))))))))))))))))))))))))))))))))))))))))))))))))))
-                 then Some
-                        (match gets r (String ((Ascii (true, false, false,
-                                 true, false, false, true, false)), (String
-                                 ((Ascii (true, false, true, true, false,
-                                 true, true, false)), (String ((Ascii (true,
-                                 false, true, true, false, true, true,
-                                 false)), (String ((Ascii (true, false, true,
-                                 false, false, true, true, false)), (String
-                                 ((Ascii (false, false, true, false, false,
-                                 true, true, false)), (String ((Ascii (true,
-                                 false, false, true, false, true, true,
-                                 false)), (String ((Ascii (true, false,
-                                 false, false, false, true, true, false)),
-                                 (String ((Ascii (false, false, true, false,
-                                 true, true, true, false)), (String ((Ascii
-                                 (true, false, true, false, false, true,
-                                 true, false)), (String ((Ascii (true, true,
-                                 true, true, false, false, true, false)),
-                                 (String ((Ascii (false, true, false, false,
-                                 true, true, true, false)), (String ((Ascii
-                                 (true, false, false, true, false, true,
-                                 true, false)), (String ((Ascii (true, true,
-                                 true, false, false, true, true, false)),
-                                 (String ((Ascii (true, false, false, true,
-                                 false, true, true, false)), (String ((Ascii
-                                 (false, true, true, true, false, true, true,
-                                 false)),
-                                 EmptyString)))))))))))))))))))))))))))))) with
-                         | [] ->
-                           spaces (S (S (S (S (S (S (S (S (S (S O))))))))))
-                         | n0 :: l ->
-                           sp :: (stringField (trim (n0 :: l)) (S (S (S (S (S
-                                   (S (S (S (S O)))))))))))
-                 else if eqb1 name (String ((Ascii (false, true, true, false,
-                           false, false, true, false)), (String ((Ascii
-                           (true, false, false, true, false, true, true,
-                           false)), (String ((Ascii (false, false, true,
-                           true, false, true, true, false)), (String ((Ascii
-                           (true, false, true, false, false, true, true,
-                           false)), (String ((Ascii (false, false, false,
-                           true, false, false, true, false)), (String ((Ascii
-                           (true, false, true, false, false, true, true,
-                           false)), (String ((Ascii (true, false, false,
-                           false, false, true, true, false)), (String ((Ascii
-                           (false, false, true, false, false, true, true,
-                           false)), (String ((Ascii (true, false, true,
-                           false, false, true, true, false)), (String ((Ascii
-                           (false, true, false, false, true, true, true,
-                           false)), (String ((Ascii (false, true, true, true,
-                           false, true, false, false)), (String ((Ascii
-                           (false, true, true, false, false, false, true,
-                           false)), (String ((Ascii (true, false, false,
-                           true, false, true, true, false)), (String ((Ascii
-                           (false, false, true, true, false, true, true,
-                           false)), (String ((Ascii (true, false, true,
-                           false, false, true, true, false)), (String ((Ascii
-                           (true, true, false, false, false, false, true,
-                           false)), (String ((Ascii (false, true, false,
-                           false, true, true, true, false)), (String ((Ascii
-                           (true, false, true, false, false, true, true,
-                           false)), (String ((Ascii (true, false, false,
-                           false, false, true, true, false)), (String ((Ascii
-                           (false, false, true, false, true, true, true,
-                           false)), (String ((Ascii (true, false, false,
-                           true, false, true, true, false)), (String ((Ascii
-                           (true, true, true, true, false, true, true,
-                           false)), (String ((Ascii (false, true, true, true,
-                           false, true, true, false)), (String ((Ascii
-                           (false, false, true, false, false, false, true,
-                           false)), (String ((Ascii (true, false, false,
-                           false, false, true, true, false)), (String ((Ascii
-                           (false, false, true, false, true, true, true,
-                           false)), (String ((Ascii (true, false, true,
-                           false, false, true, true, false)), (String ((Ascii
-                           (false, true, true, false, false, false, true,
-                           false)), (String ((Ascii (true, false, false,
-                           true, false, true, true, false)), (String ((Ascii
-                           (true, false, true, false, false, true, true,
-                           false)), (String ((Ascii (false, false, true,
-                           true, false, true, true, false)), (String ((Ascii
-                           (false, false, true, false, false, true, true,
-                           false)),
-                           EmptyString))))))))))))))))))))))))))))))))))))))))))))))))))))))))))))))))
-                      then if Nat.eqb
-                                (rune_count
-                                  (gets r (String ((Ascii (false, true, true,
-                                    false, false, false, true, false)),
-                                    (String ((Ascii (true, false, false,
-                                    true, false, true, true, false)), (String
-                                    ((Ascii (false, false, true, true, false,
-                                    true, true, false)), (String ((Ascii
-                                    (true, false, true, false, false, true,
-                                    true, false)), (String ((Ascii (true,
-                                    true, false, false, false, false, true,
-                                    false)), (String ((Ascii (false, true,
-                                    false, false, true, true, true, false)),
-                                    (String ((Ascii (true, false, true,
-                                    false, false, true, true, false)),
-                                    (String ((Ascii (true, false, false,
-                                    false, false, true, true, false)),
-                                    (String ((Ascii (false, false, true,
-                                    false, true, true, true, false)), (String
-                                    ((Ascii (true, false, false, true, false,
-                                    true, true, false)), (String ((Ascii
-                                    (true, true, true, true, false, true,
-                                    true, false)), (String ((Ascii (false,
-                                    true, true, true, false, true, true,
-                                    false)), (String ((Ascii (false, false,
-                                    true, false, false, false, true, false)),
-                                    (String ((Ascii (true, false, false,
-                                    false, false, true, true, false)),
-                                    (String ((Ascii (false, false, true,
-                                    false, true, true, true, false)), (String
-                                    ((Ascii (true, false, true, false, false,
-                                    true, true, false)),
-                                    EmptyString))))))))))))))))))))))))))))))))))
-                                (S (S (S (S (S (S O))))))
-                           then Some
-                                  (gets r (String ((Ascii (false, true, true,
-                                    false, false, false, true, false)),
-                                    (String ((Ascii (true, false, false,
-                                    true, false, true, true, false)), (String
-                                    ((Ascii (false, false, true, true, false,
-                                    true, true, false)), (String ((Ascii
-                                    (true, false, true, false, false, true,
-                                    true, false)), (String ((Ascii (true,
-                                    true, false, false, false, false, true,
-                                    false)), (String ((Ascii (false, true,
-                                    false, false, true, true, true, false)),
-                                    (String ((Ascii (true, false, true,
-                                    false, false, true, true, false)),
-                                    (String ((Ascii (true, false, false,
-                                    false, false, true, true, false)),
-                                    (String ((Ascii (false, false, true,
-                                    false, true, true, true, false)), (String
-                                    ((Ascii (true, false, false, true, false,
-                                    true, true, false)), (String ((Ascii
-                                    (true, true, true, true, false, true,
-                                    true, false)), (String ((Ascii (false,
-                                    true, true, true, false, true, true,
-                                    false)), (String ((Ascii (false, false,
-                                    true, false, false, false, true, false)),
-                                    (String ((Ascii (true, false, false,
-                                    false, false, true, true, false)),
-                                    (String ((Ascii (false, false, true,
-                                    false, true, true, true, false)), (String
-                                    ((Ascii (true, false, true, false, false,
-                                    true, true, false)),
-                                    EmptyString)))))))))))))))))))))))))))))))))
-                           else None
-                      else if eqb1 name (String ((Ascii (false, true, true,
-                                false, false, false, true, false)), (String
-                                ((Ascii (true, false, false, true, false,
-                                true, true, false)), (String ((Ascii (false,
-                                false, true, true, false, true, true,
-                                false)), (String ((Ascii (true, false, true,
-                                false, false, true, true, false)), (String
-                                ((Ascii (false, false, false, true, false,
-                                false, true, false)), (String ((Ascii (true,
-                                false, true, false, false, true, true,
-                                false)), (String ((Ascii (true, false, false,
-                                false, false, true, true, false)), (String
-                                ((Ascii (false, false, true, false, false,
-                                true, true, false)), (String ((Ascii (true,
-                                false, true, false, false, true, true,
-                                false)), (String ((Ascii (false, true, false,
-                                false, true, true, true, false)), (String
-                                ((Ascii (false, true, true, true, false,
-                                true, false, false)), (String ((Ascii (false,
-                                true, true, false, false, false, true,
-                                false)), (String ((Ascii (true, false, false,
-                                true, false, true, true, false)), (String
-                                ((Ascii (false, false, true, true, false,
-                                true, true, false)), (String ((Ascii (true,
-                                false, true, false, false, true, true,
-                                false)), (String ((Ascii (true, true, false,
-                                false, false, false, true, false)), (String
-                                ((Ascii (false, true, false, false, true,
-                                true, true, false)), (String ((Ascii (true,
-                                false, true, false, false, true, true,
-                                false)), (String ((Ascii (true, false, false,
-                                false, false, true, true, false)), (String
-                                ((Ascii (false, false, true, false, true,
-                                true, true, false)), (String ((Ascii (true,
-                                false, false, true, false, true, true,
-                                false)), (String ((Ascii (true, true, true,
-                                true, false, true, true, false)), (String
-                                ((Ascii (false, true, true, true, false,
-                                true, true, false)), (String ((Ascii (false,
-                                false, true, false, true, false, true,
-                                false)), (String ((Ascii (true, false, false,
-                                true, false, true, true, false)), (String
-                                ((Ascii (true, false, true, true, false,
-                                true, true, false)), (String ((Ascii (true,
-                                false, true, false, false, true, true,
-                                false)), (String ((Ascii (false, true, true,
-                                false, false, false, true, false)), (String
-                                ((Ascii (true, false, false, true, false,
-                                true, true, false)), (String ((Ascii (true,
-                                false, true, false, false, true, true,
-                                false)), (String ((Ascii (false, false, true,
-                                true, false, true, true, false)), (String
-                                ((Ascii (false, false, true, false, false,
-                                true, true, false)),
-                                EmptyString))))))))))))))))))))))))))))))))))))))))))))))))))))))))))))))))
-                           then if Nat.eqb
-                                     (rune_count
-                                       (gets r (String ((Ascii (false, true,
-                                         true, false, false, false, true,
-                                         false)), (String ((Ascii (true,
-                                         false, false, true, false, true,
-                                         true, false)), (String ((Ascii
-                                         (false, false, true, true, false,
-                                         true, true, false)), (String ((Ascii
-                                         (true, false, true, false, false,
-                                         true, true, false)), (String ((Ascii
-                                         (true, true, false, false, false,
-                                         false, true, false)), (String
-                                         ((Ascii (false, true, false, false,
-                                         true, true, true, false)), (String
-                                         ((Ascii (true, false, true, false,
-                                         false, true, true, false)), (String
-                                         ((Ascii (true, false, false, false,
-                                         false, true, true, false)), (String
-                                         ((Ascii (false, false, true, false,
-                                         true, true, true, false)), (String
-                                         ((Ascii (true, false, false, true,
-                                         false, true, true, false)), (String
-                                         ((Ascii (true, true, true, true,
-                                         false, true, true, false)), (String
-                                         ((Ascii (false, true, true, true,
-                                         false, true, true, false)), (String
-                                         ((Ascii (false, false, true, false,
-                                         true, false, true, false)), (String
-                                         ((Ascii (true, false, false, true,
-                                         false, true, true, false)), (String
-                                         ((Ascii (true, false, true, true,
-                                         false, true, true, false)), (String
-                                         ((Ascii (true, false, true, false,
-                                         false, true, true, false)),
-                                         EmptyString))))))))))))))))))))))))))))))))))
-                                     (S (S (S (S O))))
-                                then Some
-                                       (gets r (String ((Ascii (false, true,
-                                         true, false, false, false, true,
-                                         false)), (String ((Ascii (true,
-                                         false, false, true, false, true,
-                                         true, false)), (String ((Ascii
-                                         (false, false, true, true, false,
-                                         true, true, false)), (String ((Ascii
-                                         (true, false, true, false, false,
-                                         true, true, false)), (String ((Ascii
-                                         (true, true, false, false, false,
-                                         false, true, false)), (String
-                                         ((Ascii (false, true, false, false,
-                                         true, true, true, false)), (String
-                                         ((Ascii (true, false, true, false,
-                                         false, true, true, false)), (String
-                                         ((Ascii (true, false, false, false,
-                                         false, true, true, false)), (String
-                                         ((Ascii (false, false, true, false,
-                                         true, true, true, false)), (String
-                                         ((Ascii (true, false, false, true,
-                                         false, true, true, false)), (String
-                                         ((Ascii (true, true, true, true,
-                                         false, true, true, false)), (String
-                                         ((Ascii (false, true, true, true,
-                                         false, true, true, false)), (String
-                                         ((Ascii (false, false, true, false,
-                                         true, false, true, false)), (String
-                                         ((Ascii (true, false, false, true,
-                                         false, true, true, false)), (String
-                                         ((Ascii (true, false, true, true,
-                                         false, true, true, false)), (String
-                                         ((Ascii (true, false, true, false,
-                                         false, true, true, false)),
-                                         EmptyString)))))))))))))))))))))))))))))))))
-                                else None
-                           else if eqb1 name (String ((Ascii (true, false,
-                                     false, true, false, false, true,
-                                     false)), (String ((Ascii (true, false,
-                                     false, false, false, false, true,
-                                     false)), (String ((Ascii (false, false,
-                                     true, false, true, false, true, false)),
-                                     (String ((Ascii (false, true, false,
-                                     false, false, false, true, false)),
-                                     (String ((Ascii (true, false, false,
-                                     false, false, true, true, false)),
-                                     (String ((Ascii (false, false, true,
-                                     false, true, true, true, false)),
-                                     (String ((Ascii (true, true, false,
-                                     false, false, true, true, false)),
-                                     (String ((Ascii (false, false, false,
-                                     true, false, true, true, false)),
-                                     (String ((Ascii (false, false, false,
-                                     true, false, false, true, false)),
-                                     (String ((Ascii (true, false, true,
-                                     false, false, true, true, false)),
-                                     (String ((Ascii (true, false, false,
-                                     false, false, true, true, false)),
-                                     (String ((Ascii (false, false, true,
-                                     false, false, true, true, false)),
-                                     (String ((Ascii (true, false, true,
-                                     false, false, true, true, false)),
-                                     (String ((Ascii (false, true, false,
-                                     false, true, true, true, false)),
-                                     (String ((Ascii (false, true, true,
-                                     true, false, true, false, false)),
-                                     (String ((Ascii (false, true, true,
-                                     false, false, false, true, false)),
-                                     (String ((Ascii (true, true, true, true,
-                                     false, true, true, false)), (String
-                                     ((Ascii (false, true, false, false,
-                                     true, true, true, false)), (String
-                                     ((Ascii (true, false, true, false,
-                                     false, true, true, false)), (String
-                                     ((Ascii (true, false, false, true,
-                                     false, true, true, false)), (String
-                                     ((Ascii (true, true, true, false, false,
-                                     true, true, false)), (String ((Ascii
-                                     (false, true, true, true, false, true,
-                                     true, false)), (String ((Ascii (true,
-                                     false, true, false, false, false, true,
-                                     false)), (String ((Ascii (false, false,
-                                     false, true, true, true, true, false)),
-                                     (String ((Ascii (true, true, false,
-                                     false, false, true, true, false)),
-                                     (String ((Ascii (false, false, false,
-                                     true, false, true, true, false)),
-                                     (String ((Ascii (true, false, false,
-                                     false, false, true, true, false)),
-                                     (String ((Ascii (false, true, true,
-                                     true, false, true, true, false)),
-                                     (String ((Ascii (true, true, true,
-                                     false, false, true, true, false)),
-                                     (String ((Ascii (true, false, true,
-                                     false, false, true, true, false)),
-                                     (String ((Ascii (false, true, false,
-                                     false, true, false, true, false)),
-                                     (String ((Ascii (true, false, true,
-                                     false, false, true, true, false)),
-                                     (String ((Ascii (false, true, true,
-                                     false, false, true, true, false)),
-                                     (String ((Ascii (true, false, true,
-                                     false, false, true, true, false)),
-                                     (String ((Ascii (false, true, false,
-                                     false, true, true, true, false)),
-                                     (String ((Ascii (true, false, true,
-                                     false, false, true, true, false)),
-                                     (String ((Ascii (false, true, true,
-                                     true, false, true, true, false)),
-                                     (String ((Ascii (true, true, false,
-                                     false, false, true, true, false)),
-                                     (String ((Ascii (true, false, true,
-                                     false, false, true, true, false)),
-                                     (String ((Ascii (false, true, true,
-                                     false, false, false, true, false)),
-                                     (String ((Ascii (true, false, false,
-                                     true, false, true, true, false)),
-                                     (String ((Ascii (true, false, true,
-                                     false, false, true, true, false)),
-                                     (String ((Ascii (false, false, true,
-                                     true, false, true, true, false)),
-                                     (String ((Ascii (false, false, true,
-                                     false, false, true, true, false)),
-                                     EmptyString))))))))))))))))))))))))))))))))))))))))))))))))))))))))))))))))))))))))))))))))))))))))
-                                then Some
-                                       (if Z.eqb
-                                             (geti r (String ((Ascii (false,
-                                               true, true, false, false,
-                                               false, true, false)), (String
-                                               ((Ascii (true, true, true,
-                                               true, false, true, true,
-                                               false)), (String ((Ascii
-                                               (false, true, false, false,
-                                               true, true, true, false)),
-                                               (String ((Ascii (true, false,
-                                               true, false, false, true,
-                                               true, false)), (String ((Ascii
-                                               (true, false, false, true,
-                                               false, true, true, false)),
-                                               (String ((Ascii (true, true,
-                                               true, false, false, true,
-                                               true, false)), (String ((Ascii
-                                               (false, true, true, true,
-                                               false, true, true, false)),
-                                               (String ((Ascii (true, false,
-                                               true, false, false, false,
-                                               true, false)), (String ((Ascii
-                                               (false, false, false, true,
-                                               true, true, true, false)),
-                                               (String ((Ascii (true, true,
-                                               false, false, false, true,
-                                               true, false)), (String ((Ascii
-                                               (false, false, false, true,
-                                               false, true, true, false)),
-                                               (String ((Ascii (true, false,
-                                               false, false, false, true,
-                                               true, false)), (String ((Ascii
-                                               (false, true, true, true,
-                                               false, true, true, false)),
-                                               (String ((Ascii (true, true,
-                                               true, false, false, true,
-                                               true, false)), (String ((Ascii
-                                               (true, false, true, false,
-                                               false, true, true, false)),
-                                               (String ((Ascii (false, true,
-                                               false, false, true, false,
-                                               true, false)), (String ((Ascii
-                                               (true, false, true, false,
-                                               false, true, true, false)),
-                                               (String ((Ascii (false, true,
-                                               true, false, false, true,
-                                               true, false)), (String ((Ascii
-                                               (true, false, true, false,
-                                               false, true, true, false)),
-                                               (String ((Ascii (false, true,
-                                               false, false, true, true,
-                                               true, false)), (String ((Ascii
-                                               (true, false, true, false,
-                                               false, true, true, false)),
-                                               (String ((Ascii (false, true,
-                                               true, true, false, true, true,
-                                               false)), (String ((Ascii
-                                               (true, true, false, false,
-                                               false, true, true, false)),
-                                               (String ((Ascii (true, false,
-                                               true, false, false, true,
-                                               true, false)), (String ((Ascii
-                                               (true, false, false, true,
-                                               false, false, true, false)),
-                                               (String ((Ascii (false, true,
-                                               true, true, false, true, true,
-                                               false)), (String ((Ascii
-                                               (false, false, true, false,
-                                               false, true, true, false)),
-                                               (String ((Ascii (true, false,
-                                               false, true, false, true,
-                                               true, false)), (String ((Ascii
-                                               (true, true, false, false,
-                                               false, true, true, false)),
-                                               (String ((Ascii (true, false,
-                                               false, false, false, true,
-                                               true, false)), (String ((Ascii
-                                               (false, false, true, false,
-                                               true, true, true, false)),
-                                               (String ((Ascii (true, true,
-                                               true, true, false, true, true,
-                                               false)), (String ((Ascii
-                                               (false, true, false, false,
-                                               true, true, true, false)),
-                                               EmptyString)))))))))))))))))))))))))))))))))))))))))))))))))))))))))))))))))))
-                                             (Zpos (XI XH))
-                                        then spaces (S (S (S (S (S (S (S (S
-                                               (S (S (S (S (S (S (S
-                                               O)))))))))))))))
-                                        else alphaField
-                                               (gets r (String ((Ascii
-                                                 (false, true, true, false,
-                                                 false, false, true, false)),
-                                                 (String ((Ascii (true, true,
-                                                 true, true, false, true,
-                                                 true, false)), (String
-                                                 ((Ascii (false, true, false,
-                                                 false, true, true, true,
-                                                 false)), (String ((Ascii
-                                                 (true, false, true, false,
-                                                 false, true, true, false)),
-                                                 (String ((Ascii (true,
-                                                 false, false, true, false,
-                                                 true, true, false)), (String
-                                                 ((Ascii (true, true, true,
-                                                 false, false, true, true,
-                                                 false)), (String ((Ascii
-                                                 (false, true, true, true,
-                                                 false, true, true, false)),
-                                                 (String ((Ascii (true,
-                                                 false, true, false, false,
-                                                 false, true, false)),
-                                                 (String ((Ascii (false,
-                                                 false, false, true, true,
-                                                 true, true, false)), (String
-                                                 ((Ascii (true, true, false,
-                                                 false, false, true, true,
-                                                 false)), (String ((Ascii
-                                                 (false, false, false, true,
-                                                 false, true, true, false)),
-                                                 (String ((Ascii (true,
-                                                 false, false, false, false,
-                                                 true, true, false)), (String
-                                                 ((Ascii (false, true, true,
-                                                 true, false, true, true,
-                                                 false)), (String ((Ascii
-                                                 (true, true, true, false,
-                                                 false, true, true, false)),
-                                                 (String ((Ascii (true,
-                                                 false, true, false, false,
-                                                 true, true, false)), (String
-                                                 ((Ascii (false, true, false,
-                                                 false, true, false, true,
-                                                 false)), (String ((Ascii
-                                                 (true, false, true, false,
-                                                 false, true, true, false)),
-                                                 (String ((Ascii (false,
-                                                 true, true, false, false,
-                                                 true, true, false)), (String
-                                                 ((Ascii (true, false, true,
-                                                 false, false, true, true,
-                                                 false)), (String ((Ascii
-                                                 (false, true, false, false,
-                                                 true, true, true, false)),
-                                                 (String ((Ascii (true,
-                                                 false, true, false, false,
-                                                 true, true, false)), (String
-                                                 ((Ascii (false, true, true,
-                                                 true, false, true, true,
-                                                 false)), (String ((Ascii
-                                                 (true, true, false, false,
-                                                 false, true, true, false)),
-                                                 (String ((Ascii (true,
-                                                 false, true, false, false,
-                                                 true, true, false)),
-                                                 EmptyString)))))))))))))))))))))))))))))))))))))))))))))))))
-                                               (S (S (S (S (S (S (S (S (S (S
-                                               (S (S (S (S (S O))))))))))))))))
-                                else if eqb1 name (String ((Ascii (true,
-                                          false, false, false, false, false,
-                                          true, false)), (String ((Ascii
-                                          (false, false, true, false, false,
-                                          true, true, false)), (String
-                                          ((Ascii (false, false, true, false,
-                                          false, true, true, false)), (String
-                                          ((Ascii (true, false, true, false,
-                                          false, true, true, false)), (String
-                                          ((Ascii (false, true, true, true,
-                                          false, true, true, false)), (String
-                                          ((Ascii (false, false, true, false,
-                                          false, true, true, false)), (String
-                                          ((Ascii (true, false, false, false,
-                                          false, true, true, false)), (String
-                                          ((Ascii (true, false, false, true,
-                                          true, true, false, false)), (String
-                                          ((Ascii (false, false, false, true,
-                                          true, true, false, false)), (String
-                                          ((Ascii (false, true, true, true,
-                                          false, true, false, false)),
-                                          (String ((Ascii (true, true, false,
-                                          false, false, false, true, false)),
-                                          (String ((Ascii (true, true, true,
-                                          true, false, true, true, false)),
-                                          (String ((Ascii (false, true,
-                                          false, false, true, true, true,
-                                          false)), (String ((Ascii (false,
-                                          true, false, false, true, true,
-                                          true, false)), (String ((Ascii
-                                          (true, false, true, false, false,
-                                          true, true, false)), (String
-                                          ((Ascii (true, true, false, false,
-                                          false, true, true, false)), (String
-                                          ((Ascii (false, false, true, false,
-                                          true, true, true, false)), (String
-                                          ((Ascii (true, false, true, false,
-                                          false, true, true, false)), (String
-                                          ((Ascii (false, false, true, false,
-                                          false, true, true, false)), (String
-                                          ((Ascii (false, false, true, false,
-                                          false, false, true, false)),
-                                          (String ((Ascii (true, false,
-                                          false, false, false, true, true,
-                                          false)), (String ((Ascii (false,
-                                          false, true, false, true, true,
-                                          true, false)), (String ((Ascii
-                                          (true, false, false, false, false,
-                                          true, true, false)), (String
-                                          ((Ascii (false, true, true, false,
-                                          false, false, true, false)),
-                                          (String ((Ascii (true, false,
-                                          false, true, false, true, true,
-                                          false)), (String ((Ascii (true,
-                                          false, true, false, false, true,
-                                          true, false)), (String ((Ascii
-                                          (false, false, true, true, false,
-                                          true, true, false)), (String
-                                          ((Ascii (false, false, true, false,
-                                          false, true, true, false)),
-                                          EmptyString))))))))))))))))))))))))))))))))))))))))))))))))))))))))
-                                     then Some
-                                            (match gets r (String ((Ascii
-                                                     (true, false, false,
-                                                     true, false, true, true,
-                                                     false)), (String ((Ascii
-                                                     (true, false, false,
-                                                     false, false, true,
-                                                     true, false)), (String
-                                                     ((Ascii (false, false,
-                                                     true, false, true, true,
-                                                     true, false)), (String
-                                                     ((Ascii (true, true,
-                                                     false, false, false,
-                                                     false, true, false)),
-                                                     (String ((Ascii (true,
-                                                     true, true, true, false,
-                                                     true, true, false)),
-                                                     (String ((Ascii (false,
-                                                     true, false, false,
-                                                     true, true, true,
-                                                     false)), (String ((Ascii
-                                                     (false, true, false,
-                                                     false, true, true, true,
-                                                     false)), (String ((Ascii
-                                                     (true, false, true,
-                                                     false, false, true,
-                                                     true, false)), (String
-                                                     ((Ascii (true, true,
-                                                     false, false, false,
-                                                     true, true, false)),
-                                                     (String ((Ascii (false,
-                                                     false, true, false,
-                                                     true, true, true,
-                                                     false)), (String ((Ascii
-                                                     (true, false, true,
-                                                     false, false, true,
-                                                     true, false)), (String
-                                                     ((Ascii (false, false,
-                                                     true, false, false,
-                                                     true, true, false)),
-                                                     (String ((Ascii (false,
-                                                     false, true, false,
-                                                     false, false, true,
-                                                     false)), (String ((Ascii
-                                                     (true, false, false,
-                                                     false, false, true,
-                                                     true, false)), (String
-                                                     ((Ascii (false, false,
-                                                     true, false, true, true,
-                                                     true, false)), (String
-                                                     ((Ascii (true, false,
-                                                     false, false, false,
-                                                     true, true, false)),
-                                                     EmptyString)))))))))))))))))))))))))))))))) with
-                                             | [] ->
-                                               alphaField
-                                                 (gets r (String ((Ascii
-                                                   (true, true, false, false,
-                                                   false, false, true,
-                                                   false)), (String ((Ascii
-                                                   (true, true, true, true,
-                                                   false, true, true,
-                                                   false)), (String ((Ascii
-                                                   (false, true, false,
-                                                   false, true, true, true,
-                                                   false)), (String ((Ascii
-                                                   (false, true, false,
-                                                   false, true, true, true,
-                                                   false)), (String ((Ascii
-                                                   (true, false, true, false,
-                                                   false, true, true,
-                                                   false)), (String ((Ascii
-                                                   (true, true, false, false,
-                                                   false, true, true,
-                                                   false)), (String ((Ascii
-                                                   (false, false, true,
-                                                   false, true, true, true,
-                                                   false)), (String ((Ascii
-                                                   (true, false, true, false,
-                                                   false, true, true,
-                                                   false)), (String ((Ascii
-                                                   (false, false, true,
-                                                   false, false, true, true,
-                                                   false)), (String ((Ascii
-                                                   (false, false, true,
-                                                   false, false, false, true,
-                                                   false)), (String ((Ascii
-                                                   (true, false, false,
-                                                   false, false, true, true,
-                                                   false)), (String ((Ascii
-                                                   (false, false, true,
-                                                   false, true, true, true,
-                                                   false)), (String ((Ascii
-                                                   (true, false, false,
-                                                   false, false, true, true,
-                                                   false)),
-                                                   EmptyString)))))))))))))))))))))))))))
-                                                 (S (S (S (S (S (S (S (S (S
-                                                 (S (S (S (S (S (S (S (S (S
-                                                 (S (S (S (S (S (S (S (S (S
-                                                 (S (S
-                                                 O)))))))))))))))))))))))))))))
-                                             | n0 :: l ->
-                                               app
-                                                 (alphaField
-                                                   (gets r (String ((Ascii
-                                                     (true, true, false,
-                                                     false, false, false,
-                                                     true, false)), (String
-                                                     ((Ascii (true, true,
-                                                     true, true, false, true,
-                                                     true, false)), (String
-                                                     ((Ascii (false, true,
-                                                     false, false, true,
-                                                     true, true, false)),
-                                                     (String ((Ascii (false,
-                                                     true, false, false,
-                                                     true, true, true,
-                                                     false)), (String ((Ascii
-                                                     (true, false, true,
-                                                     false, false, true,
-                                                     true, false)), (String
-                                                     ((Ascii (true, true,
-                                                     false, false, false,
-                                                     true, true, false)),
-                                                     (String ((Ascii (false,
-                                                     false, true, false,
-                                                     true, true, true,
-                                                     false)), (String ((Ascii
-                                                     (true, false, true,
-                                                     false, false, true,
-                                                     true, false)), (String
-                                                     ((Ascii (false, false,
-                                                     true, false, false,
-                                                     true, true, false)),
-                                                     (String ((Ascii (false,
-                                                     false, true, false,
-                                                     false, false, true,
-                                                     false)), (String ((Ascii
-                                                     (true, false, false,
-                                                     false, false, true,
-                                                     true, false)), (String
-                                                     ((Ascii (false, false,
-                                                     true, false, true, true,
-                                                     true, false)), (String
-                                                     ((Ascii (true, false,
-                                                     false, false, false,
-                                                     true, true, false)),
-                                                     EmptyString)))))))))))))))))))))))))))
-                                                   (S (S (S (S (S (S (S (S (S
-                                                   (S (S (S (S (S (S (S (S (S
-                                                   (S (S (S (S (S (S (S (S (S
-                                                   (S (S
-                                                   O))))))))))))))))))))))))))))))
-                                                 (alphaField (n0 :: l) (S (S
-                                                   (S (S (S (S O))))))))
-                                     else None
-
-(** val render_seg : recval -> seg -> bytes **)
-
-let render_seg r = function
-| SLit bs -> bs
-| SAlpha (f, w) -> alphaField (gets r f) w
-| SNum (f, w) -> numericField (geti r f) w
-| SStr (f, w) -> stringField (gets r f) w
-| SRaw f -> gets r f
-| SItoa f -> itoa (geti r f)
-| SCustom (n0, _) ->
-  (match render_custom n0 r with
-   | Some bs -> bs
-   | None -> [])
-| SUnknown _ -> []
-
-(** val render : layout -> recval -> bytes **)
-
-let render l r =
-  concat (map (render_seg r) l.l_segs)
-
-(** val units : indexing -> bytes -> bytes list **)
-
-let units ix s =
-  match ix with
-  | IRune -> map snd (chunks s)
-  | IByte -> map (fun b -> b :: []) s
-
-(** val sub0 : bytes list -> nat -> nat -> bytes **)
-
-let sub0 us lo hi =
-  concat (firstn (sub hi lo) (skipn lo us))
-
-(** val two : n -> n -> n **)
-
-let two a b =
-  N.add
-    (N.mul (N.sub a (Npos (XO (XO (XO (XO (XI XH))))))) (Npos (XO (XI (XO
-      XH))))) (N.sub b (Npos (XO (XO (XO (XO (XI XH)))))))
-
-(** val valid_date : bytes -> bool **)
-
-let valid_date s = match s with
-| [] -> false
-| y1 :: l ->
-  (match l with
-   | [] -> false
-   | y2 :: l0 ->
-     (match l0 with
-      | [] -> false
-      | m1 :: l1 ->
-        (match l1 with
-         | [] -> false
-         | m2 :: l2 ->
-           (match l2 with
-            | [] -> false
-            | d1 :: l3 ->
-              (match l3 with
-               | [] -> false
-               | d2 :: l4 ->
-                 (match l4 with
-                  | [] ->
-                    (&&) (forallb is_digit s)
-                      (let yy = two y1 y2 in
-                       let mm = two m1 m2 in
-                       let dd = two d1 d2 in
-                       let year =
-                         if N.ltb yy (Npos (XI (XO (XI (XO (XO (XO XH)))))))
-                         then N.add (Npos (XO (XO (XO (XO (XI (XO (XI (XI (XI
-                                (XI XH))))))))))) yy
-                         else N.add (Npos (XO (XO (XI (XI (XO (XI (XI (XO (XI
-                                (XI XH))))))))))) yy
-                       in
-                       let leap =
-                         (||)
-                           ((&&)
-                             (N.eqb (N.modulo year (Npos (XO (XO XH)))) N0)
-                             (negb
-                               (N.eqb
-                                 (N.modulo year (Npos (XO (XO (XI (XO (XO (XI
-                                   XH)))))))) N0)))
-                           (N.eqb
-                             (N.modulo year (Npos (XO (XO (XO (XO (XI (XO (XO
-                               (XI XH)))))))))) N0)
-                       in
-                       let dim =
-                         if N.eqb mm (Npos (XO XH))
-                         then if leap
-                              then Npos (XI (XO (XI (XI XH))))
-                              else Npos (XO (XO (XI (XI XH))))
-                         else if (||)
-                                   ((||)
-                                     ((||) (N.eqb mm (Npos (XO (XO XH))))
-                                       (N.eqb mm (Npos (XO (XI XH)))))
-                                     (N.eqb mm (Npos (XI (XO (XO XH))))))
-                                   (N.eqb mm (Npos (XI (XI (XO XH)))))
-                              then Npos (XO (XI (XI (XI XH))))
-                              else Npos (XI (XI (XI (XI XH))))
-                       in
-                       (&&)
-                         ((&&)
-                           ((&&) (N.leb (Npos XH) mm)
-                             (N.leb mm (Npos (XO (XO (XI XH))))))
-                           (N.leb (Npos XH) dd)) (N.leb dd dim))
-                  | _ :: _ -> false))))))
-
-(** val valid_time : bytes -> bool **)
-
-let valid_time = function
-| [] -> false
-| h1 :: l ->
-  (match l with
-   | [] -> false
-   | h2 :: l0 ->
-     (match l0 with
-      | [] -> false
-      | m1 :: l1 ->
-        (match l1 with
-         | [] -> false
-         | m2 :: l2 ->
-           (match l2 with
-            | [] ->
-              (&&)
-                ((&&)
-                  ((&&)
-                    ((&&)
-                      ((&&) (N.leb (Npos (XO (XO (XO (XO (XI XH)))))) h1)
-                        (N.leb h1 (Npos (XO (XI (XO (XO (XI XH))))))))
-                      (is_digit h2))
-                    (N.leb (Npos (XO (XO (XO (XO (XI XH)))))) m1))
-                  (N.leb m1 (Npos (XI (XO (XI (XO (XI XH)))))))) (is_digit m2)
-            | _ :: _ -> false))))
-
-(** val validateSettlementDate : bytes -> bytes **)
-
-let validateSettlementDate s =
-  if (||) (bytes_eqb s (spaces (S (S (S O)))))
-       (negb (Nat.eqb (rune_count s) (S (S (S O)))))
-  then spaces (S (S (S O)))
-  else (match atoi_opt s with
-        | Some d ->
-          if (&&) (Z.leb (Zpos XH) d)
-               (Z.leb d (Zpos (XO (XI (XI (XI (XO (XI (XI (XO XH))))))))))
-          then s
-          else spaces (S (S (S O)))
-        | None -> spaces (S (S (S O))))
-
-(** val ten_zeros : bytes **)
-
-let ten_zeros =
-  zeros (S (S (S (S (S (S (S (S (S (S O))))))))))
-
-(** val trimRoutingNumberLeadingZero : bytes -> bytes **)
-
-let trimRoutingNumberLeadingZero s = match s with
-| [] -> trim s
-| n0 :: t ->
-  (match n0 with
-   | N0 -> trim s
-   | Npos p ->
-     (match p with
-      | XO p0 ->
-        (match p0 with
-         | XO p1 ->
-           (match p1 with
-            | XO p2 ->
-              (match p2 with
-               | XO p3 ->
-                 (match p3 with
-                  | XI p4 ->
-                    (match p4 with
-                     | XH ->
-                       if (&&)
-                            (Nat.eqb (rune_count s) (S (S (S (S (S (S (S (S
-                              (S (S O)))))))))))
-                            (negb (bytes_eqb s ten_zeros))
-                       then trim t
-                       else trim s
-                     | _ -> trim s)
-                  | _ -> trim s)
-               | _ -> trim s)
-            | _ -> trim s)
-         | _ -> trim s)
-      | _ -> trim s))
-
-(** val conv_str : string -> bytes -> bytes option **)
-
-let conv_str fn s =
-  if (||)
-       ((||)
-         (eqb1 fn (String ((Ascii (false, false, false, false, true, true,
-           true, false)), (String ((Ascii (true, false, false, false, false,
-           true, true, false)), (String ((Ascii (false, true, false, false,
-           true, true, true, false)), (String ((Ascii (true, true, false,
-           false, true, true, true, false)), (String ((Ascii (true, false,
-           true, false, false, true, true, false)), (String ((Ascii (true,
-           true, false, false, true, false, true, false)), (String ((Ascii
-           (false, false, true, false, true, true, true, false)), (String
-           ((Ascii (false, true, false, false, true, true, true, false)),
-           (String ((Ascii (true, false, false, true, false, true, true,
-           false)), (String ((Ascii (false, true, true, true, false, true,
-           true, false)), (String ((Ascii (true, true, true, false, false,
-           true, true, false)), (String ((Ascii (false, true, true, false,
-           false, false, true, false)), (String ((Ascii (true, false, false,
-           true, false, true, true, false)), (String ((Ascii (true, false,
-           true, false, false, true, true, false)), (String ((Ascii (false,
-           false, true, true, false, true, true, false)), (String ((Ascii
-           (false, false, true, false, false, true, true, false)),
-           EmptyString)))))))))))))))))))))))))))))))))
-         (eqb1 fn (String ((Ascii (true, true, false, false, true, true,
-           true, false)), (String ((Ascii (false, false, true, false, true,
-           true, true, false)), (String ((Ascii (false, true, false, false,
-           true, true, true, false)), (String ((Ascii (true, false, false,
-           true, false, true, true, false)), (String ((Ascii (false, true,
-           true, true, false, true, true, false)), (String ((Ascii (true,
-           true, true, false, false, true, true, false)), (String ((Ascii
-           (true, true, false, false, true, true, true, false)), (String
-           ((Ascii (false, true, true, true, false, true, false, false)),
-           (String ((Ascii (false, false, true, false, true, false, true,
-           false)), (String ((Ascii (false, true, false, false, true, true,
-           true, false)), (String ((Ascii (true, false, false, true, false,
-           true, true, false)), (String ((Ascii (true, false, true, true,
-           false, true, true, false)), (String ((Ascii (true, true, false,
-           false, true, false, true, false)), (String ((Ascii (false, false,
-           false, false, true, true, true, false)), (String ((Ascii (true,
-           false, false, false, false, true, true, false)), (String ((Ascii
-           (true, true, false, false, false, true, true, false)), (String
-           ((Ascii (true, false, true, false, false, true, true, false)),
-           EmptyString))))))))))))))))))))))))))))))))))))
-       (eqb1 fn (String ((Ascii (false, false, false, false, true, true,
-         true, false)), (String ((Ascii (true, false, false, false, false,
-         true, true, false)), (String ((Ascii (false, true, false, false,
-         true, true, true, false)), (String ((Ascii (true, true, false,
-         false, true, true, true, false)), (String ((Ascii (true, false,
-         true, false, false, true, true, false)), (String ((Ascii (true,
-         true, false, false, true, false, true, false)), (String ((Ascii
-         (false, false, true, false, true, true, true, false)), (String
-         ((Ascii (false, true, false, false, true, true, true, false)),
-         (String ((Ascii (true, false, false, true, false, true, true,
-         false)), (String ((Ascii (false, true, true, true, false, true,
-         true, false)), (String ((Ascii (true, true, true, false, false,
-         true, true, false)), (String ((Ascii (false, true, true, false,
-         false, false, true, false)), (String ((Ascii (true, false, false,
-         true, false, true, true, false)), (String ((Ascii (true, false,
-         true, false, false, true, true, false)), (String ((Ascii (false,
-         false, true, true, false, true, true, false)), (String ((Ascii
-         (false, false, true, false, false, true, true, false)), (String
-         ((Ascii (true, true, true, false, true, false, true, false)),
-         (String ((Ascii (true, false, false, true, false, true, true,
-         false)), (String ((Ascii (false, false, true, false, true, true,
-         true, false)), (String ((Ascii (false, false, false, true, false,
-         true, true, false)), (String ((Ascii (true, true, true, true, false,
-         false, true, false)), (String ((Ascii (false, false, false, false,
-         true, true, true, false)), (String ((Ascii (false, false, true,
-         false, true, true, true, false)), (String ((Ascii (true, true,
-         false, false, true, true, true, false)),
-         EmptyString)))))))))))))))))))))))))))))))))))))))))))))))))
-  then Some (trim s)
-  else if eqb1 fn (String ((Ascii (false, false, true, false, true, true,
-            true, false)), (String ((Ascii (false, true, false, false, true,
-            true, true, false)), (String ((Ascii (true, false, false, true,
-            false, true, true, false)), (String ((Ascii (true, false, true,
-            true, false, true, true, false)), (String ((Ascii (false, true,
-            false, false, true, false, true, false)), (String ((Ascii (true,
-            true, true, true, false, true, true, false)), (String ((Ascii
-            (true, false, true, false, true, true, true, false)), (String
-            ((Ascii (false, false, true, false, true, true, true, false)),
-            (String ((Ascii (true, false, false, true, false, true, true,
-            false)), (String ((Ascii (false, true, true, true, false, true,
-            true, false)), (String ((Ascii (true, true, true, false, false,
-            true, true, false)), (String ((Ascii (false, true, true, true,
-            false, false, true, false)), (String ((Ascii (true, false, true,
-            false, true, true, true, false)), (String ((Ascii (true, false,
-            true, true, false, true, true, false)), (String ((Ascii (false,
-            true, false, false, false, true, true, false)), (String ((Ascii
-            (true, false, true, false, false, true, true, false)), (String
-            ((Ascii (false, true, false, false, true, true, true, false)),
-            (String ((Ascii (false, false, true, true, false, false, true,
-            false)), (String ((Ascii (true, false, true, false, false, true,
-            true, false)), (String ((Ascii (true, false, false, false, false,
-            true, true, false)), (String ((Ascii (false, false, true, false,
-            false, true, true, false)), (String ((Ascii (true, false, false,
-            true, false, true, true, false)), (String ((Ascii (false, true,
-            true, true, false, true, true, false)), (String ((Ascii (true,
-            true, true, false, false, true, true, false)), (String ((Ascii
-            (false, true, false, true, true, false, true, false)), (String
-            ((Ascii (true, false, true, false, false, true, true, false)),
-            (String ((Ascii (false, true, false, false, true, true, true,
-            false)), (String ((Ascii (true, true, true, true, false, true,
-            true, false)),
-            EmptyString))))))))))))))))))))))))))))))))))))))))))))))))))))))))
-       then Some (trimRoutingNumberLeadingZero s)
-       else if eqb1 fn (String ((Ascii (false, true, true, false, true, true,
-                 true, false)), (String ((Ascii (true, false, false, false,
-                 false, true, true, false)), (String ((Ascii (false, false,
-                 true, true, false, true, true, false)), (String ((Ascii
-                 (true, false, false, true, false, true, true, false)),
-                 (String ((Ascii (false, false, true, false, false, true,
-                 true, false)), (String ((Ascii (true, false, false, false,
-                 false, true, true, false)), (String ((Ascii (false, false,
-                 true, false, true, true, true, false)), (String ((Ascii
-                 (true, false, true, false, false, true, true, false)),
-                 (String ((Ascii (true, true, false, false, true, false,
-                 true, false)), (String ((Ascii (true, false, false, true,
-                 false, true, true, false)), (String ((Ascii (true, false,
-                 true, true, false, true, true, false)), (String ((Ascii
-                 (false, false, false, false, true, true, true, false)),
-                 (String ((Ascii (false, false, true, true, false, true,
-                 true, false)), (String ((Ascii (true, false, true, false,
-                 false, true, true, false)), (String ((Ascii (false, false,
-                 true, false, false, false, true, false)), (String ((Ascii
-                 (true, false, false, false, false, true, true, false)),
-                 (String ((Ascii (false, false, true, false, true, true,
-                 true, false)), (String ((Ascii (true, false, true, false,
-                 false, true, true, false)),
-                 EmptyString))))))))))))))))))))))))))))))))))))
-            then Some (if valid_date s then s else [])
-            else if eqb1 fn (String ((Ascii (false, true, true, false, true,
-                      true, true, false)), (String ((Ascii (true, false,
-                      false, false, false, true, true, false)), (String
-                      ((Ascii (false, false, true, true, false, true, true,
-                      false)), (String ((Ascii (true, false, false, true,
-                      false, true, true, false)), (String ((Ascii (false,
-                      false, true, false, false, true, true, false)), (String
-                      ((Ascii (true, false, false, false, false, true, true,
-                      false)), (String ((Ascii (false, false, true, false,
-                      true, true, true, false)), (String ((Ascii (true,
-                      false, true, false, false, true, true, false)), (String
-                      ((Ascii (true, true, false, false, true, false, true,
-                      false)), (String ((Ascii (true, false, false, true,
-                      false, true, true, false)), (String ((Ascii (true,
-                      false, true, true, false, true, true, false)), (String
-                      ((Ascii (false, false, false, false, true, true, true,
-                      false)), (String ((Ascii (false, false, true, true,
-                      false, true, true, false)), (String ((Ascii (true,
-                      false, true, false, false, true, true, false)), (String
-                      ((Ascii (false, false, true, false, true, false, true,
-                      false)), (String ((Ascii (true, false, false, true,
-                      false, true, true, false)), (String ((Ascii (true,
-                      false, true, true, false, true, true, false)), (String
-                      ((Ascii (true, false, true, false, false, true, true,
-                      false)), EmptyString))))))))))))))))))))))))))))))))))))
-                 then Some (if valid_time s then s else [])
-                 else if eqb1 fn (String ((Ascii (false, true, true, false,
-                           true, true, true, false)), (String ((Ascii (true,
-                           false, false, false, false, true, true, false)),
-                           (String ((Ascii (false, false, true, true, false,
-                           true, true, false)), (String ((Ascii (true, false,
-                           false, true, false, true, true, false)), (String
-                           ((Ascii (false, false, true, false, false, true,
-                           true, false)), (String ((Ascii (true, false,
-                           false, false, false, true, true, false)), (String
-                           ((Ascii (false, false, true, false, true, true,
-                           true, false)), (String ((Ascii (true, false, true,
-                           false, false, true, true, false)), (String ((Ascii
-                           (true, true, false, false, true, false, true,
-                           false)), (String ((Ascii (true, false, true,
-                           false, false, true, true, false)), (String ((Ascii
-                           (false, false, true, false, true, true, true,
-                           false)), (String ((Ascii (false, false, true,
-                           false, true, true, true, false)), (String ((Ascii
-                           (false, false, true, true, false, true, true,
-                           false)), (String ((Ascii (true, false, true,
-                           false, false, true, true, false)), (String ((Ascii
-                           (true, false, true, true, false, true, true,
-                           false)), (String ((Ascii (true, false, true,
-                           false, false, true, true, false)), (String ((Ascii
-                           (false, true, true, true, false, true, true,
-                           false)), (String ((Ascii (false, false, true,
-                           false, true, true, true, false)), (String ((Ascii
-                           (false, false, true, false, false, false, true,
-                           false)), (String ((Ascii (true, false, false,
-                           false, false, true, true, false)), (String ((Ascii
-                           (false, false, true, false, true, true, true,
-                           false)), (String ((Ascii (true, false, true,
-                           false, false, true, true, false)),
-                           EmptyString))))))))))))))))))))))))))))))))))))))))))))
-                      then Some (validateSettlementDate s)
-                      else None
-
-(** val conv_chain : string list -> bytes -> bytes option **)
-
-let rec conv_chain chain s =
-  match chain with
-  | [] -> Some s
-  | fn :: rest ->
-    (match conv_chain rest s with
-     | Some s' -> conv_str fn s'
-     | None -> None)
-
-(** val conv_value : string list -> bytes -> value option **)
-
-let conv_value chain s =
-  match chain with
-  | [] -> Some (VS s)
-  | fn :: rest ->
-    if eqb1 fn (String ((Ascii (false, false, false, false, true, true, true,
-         false)), (String ((Ascii (true, false, false, false, false, true,
-         true, false)), (String ((Ascii (false, true, false, false, true,
-         true, true, false)), (String ((Ascii (true, true, false, false,
-         true, true, true, false)), (String ((Ascii (true, false, true,
-         false, false, true, true, false)), (String ((Ascii (false, true,
-         true, true, false, false, true, false)), (String ((Ascii (true,
-         false, true, false, true, true, true, false)), (String ((Ascii
-         (true, false, true, true, false, true, true, false)), (String
-         ((Ascii (false, true, true, false, false, false, true, false)),
-         (String ((Ascii (true, false, false, true, false, true, true,
-         false)), (String ((Ascii (true, false, true, false, false, true,
-         true, false)), (String ((Ascii (false, false, true, true, false,
-         true, true, false)), (String ((Ascii (false, false, true, false,
-         false, true, true, false)), EmptyString))))))))))))))))))))))))))
-    then (match conv_chain rest s with
-          | Some s' -> Some (VI (parseNumField s'))
-          | None -> None)
-    else (match conv_chain chain s with
-          | Some s' -> Some (VS s')
-          | None -> None)
-
-(** val parse_cut : bytes list -> cut -> (string * value) list **)
-
-let parse_cut us c =
-  match c.c_const with
-  | Some bs -> (c.c_field, (VS bs)) :: []
+| b :: r ->
+  (if Z.leb b.sb_num (Zpos XH)
+   then { sb_adv = b.sb_adv; sb_scc = b.sb_scc; sb_num = seq; sb_ident =
+          b.sb_ident; sb_credit = b.sb_credit; sb_debit = b.sb_debit;
+          sb_entries = b.sb_entries }
+   else b) :: (renumber (Z.add seq (Zpos XH)) r)
+
+(** val tot_credit : sbatch list -> z **)
+
+let rec tot_credit = function
+| [] -> Z0
+| b :: r -> Z.add b.sb_credit (tot_credit r)
+
+(** val tot_debit : sbatch list -> z **)
+
+let rec tot_debit = function
+| [] -> Z0
+| b :: r -> Z.add b.sb_debit (tot_debit r)
+
+(** val is_adv_file : sbatch list -> bool **)
+
+let is_adv_file bs =
+  existsb (fun s -> s.sb_adv) bs
+
+type verr =
+| VBatch
+| VTotals
+| VAscending
+
+type serr =
+| EInput of verr
+| EAdvOnly
+| EOutput of verr
+
+(** val create : n -> n -> sbatch list -> sbatch list -> sfile option **)
+
+let create origin dest bs is =
+  if is_adv_file bs
+  then if forallb (fun s -> s.sb_adv) bs
+       then let bs' = renumber (Zpos XH) bs in
+            Some { sf_origin = origin; sf_dest = dest; sf_batches = bs';
+            sf_iat = is; sf_credit = (tot_credit bs'); sf_debit =
+            (tot_debit bs') }
+       else None
+  else let bs' = renumber (Zpos XH) bs in
+       let is' = renumber (Z.add (Zpos XH) (Z.of_nat (length bs))) is in
+       Some { sf_origin = origin; sf_dest = dest; sf_batches = bs'; sf_iat =
+       is'; sf_credit = (Z.add (tot_credit bs') (tot_credit is')); sf_debit =
+       (Z.add (tot_debit bs') (tot_debit is')) }
+
+(** val dir_wf : stables -> sbatch -> bool **)
+
+let dir_wf t b =
+  (&&)
+    ((&&)
+      ((&&)
+        (memz b.sb_scc ((Zpos (XO (XO (XO (XI (XO (XO (XI
+          XH)))))))) :: ((Zpos (XO (XO (XI (XI (XI (XO (XI
+          XH)))))))) :: ((Zpos (XI (XO (XO (XO (XO (XI (XI
+          XH)))))))) :: []))))
+        (forallb (fun e -> entry_code t.st_codes e.e_code) b.sb_entries))
+      (implb (Z.eqb b.sb_scc (Zpos (XO (XO (XI (XI (XI (XO (XI XH)))))))))
+        (all_dir TCredit b.sb_entries)))
+    (implb (Z.eqb b.sb_scc (Zpos (XI (XO (XO (XO (XO (XI (XI XH)))))))))
+      (all_dir TDebit b.sb_entries))
+
+(** val ctl_wf : seg_arm list -> sbatch -> bool **)
+
+let ctl_wf amt b =
+  (&&)
+    ((&&) (match b.sb_entries with
+           | [] -> false
+           | _ :: _ -> true)
+      (Z.eqb b.sb_credit (sum_dir amt TCredit b.sb_entries)))
+    (Z.eqb b.sb_debit (sum_dir amt TDebit b.sb_entries))
+
+(** val batch_ok : stables -> sbatch -> bool **)
+
+let batch_ok t b =
+  (&&) ((&&) (negb b.sb_adv) (ctl_wf t.st_amt_std b)) (dir_wf t b)
+
+(** val ascending : z -> z list -> bool **)
+
+let rec ascending last = function
+| [] -> true
+| n0 :: r -> (&&) (Z.ltb last n0) (ascending n0 r)
+
+(** val validate : stables -> sfile -> verr option **)
+
+let validate t f =
+  if is_adv_file f.sf_batches
+  then if (&&) (Z.eqb f.sf_credit (tot_credit f.sf_batches))
+            (Z.eqb f.sf_debit (tot_debit f.sf_batches))
+       then None
+       else Some VTotals
+  else if negb (forallb (batch_ok t) f.sf_batches)
+       then Some VBatch
+       else if negb
+                 ((&&)
+                   (Z.eqb f.sf_credit
+                     (Z.add (tot_credit f.sf_batches) (tot_credit f.sf_iat)))
+                   (Z.eqb f.sf_debit
+                     (Z.add (tot_debit f.sf_batches) (tot_debit f.sf_iat))))
+            then Some VTotals
+            else if negb (ascending Z0 (map (fun s -> s.sb_num) f.sf_batches))
+                 then Some VAscending
+                 else None
+
+type sres =
+| SOk of sfile * sfile
+| SErr of serr
+
+(** val finish :
+    stables -> n -> n -> sbatch list -> sbatch list -> (sfile, serr) sum **)
+
+let finish t origin dest bs is =
+  match bs with
+  | [] ->
+    (match is with
+     | [] -> Inl empty_file
+     | _ :: _ ->
+       (match create origin dest bs is with
+        | Some g ->
+          (match validate t g with
+           | Some v -> Inr (EOutput v)
+           | None -> Inl g)
+        | None -> Inr EAdvOnly))
+  | _ :: _ ->
+    (match create origin dest bs is with
+     | Some g ->
+       (match validate t g with
+        | Some v -> Inr (EOutput v)
+        | None -> Inl g)
+     | None -> Inr EAdvOnly)
+
+(** val segment : stables -> sfile -> sres **)
+
+let segment t f =
+  match validate t f with
+  | Some v -> SErr (EInput v)
   | None ->
-    if eqb1 c.c_field EmptyString
-    then []
-    else (match conv_value c.c_conv (sub0 us c.c_lo c.c_hi) with
-          | Some v -> (c.c_field, v) :: []
-          | None -> [])
+    let out = fun cr ->
+      finish t f.sf_origin f.sf_dest (flat_map (part t cr) f.sf_batches)
+        (flat_map (ipart t cr) f.sf_iat)
+    in
+    (match out true with
+     | Inl cf ->
+       (match out false with
+        | Inl df -> SOk (cf, df)
+        | Inr e -> SErr e)
+     | Inr e -> SErr e)
 
-(** val parse : layout -> bytes -> recval **)
+(** val seg_std_arms : seg_arm list **)
 
-let parse l line =
-  if Nat.eqb (rune_count line) (S (S (S (S (S (S (S (S (S (S (S (S (S (S (S
-       (S (S (S (S (S (S (S (S (S (S (S (S (S (S (S (S (S (S (S (S (S (S (S
-       (S (S (S (S (S (S (S (S (S (S (S (S (S (S (S (S (S (S (S (S (S (S (S
-       (S (S (S (S (S (S (S (S (S (S (S (S (S (S (S (S (S (S (S (S (S (S (S
-       (S (S (S (S (S (S (S (S (S (S
-       O))))))))))))))))))))))))))))))))))))))))))))))))))))))))))))))))))))))))))))))))))))))))))))))
-  then flat_map (parse_cut (units l.l_ix line)) l.l_cuts
-  else []
+let seg_std_arms =
+  { sa_codes = ((Zpos (XO (XI (XI (XO XH))))) :: ((Zpos (XI (XO (XI (XO
+    XH))))) :: ((Zpos (XI (XI (XI (XO XH))))) :: ((Zpos (XO (XO (XO (XI
+    XH))))) :: ((Zpos (XO (XO (XO (XO (XO XH)))))) :: ((Zpos (XI (XI (XI (XI
+    XH))))) :: ((Zpos (XI (XO (XO (XO (XO XH)))))) :: ((Zpos (XO (XI (XO (XO
+    (XO XH)))))) :: ((Zpos (XO (XI (XO (XI (XO XH)))))) :: ((Zpos (XI (XO (XO
+    (XI (XO XH)))))) :: ((Zpos (XI (XI (XO (XI (XO XH)))))) :: ((Zpos (XO (XO
+    (XI (XI (XO XH)))))) :: ((Zpos (XO (XO (XI (XO (XI XH)))))) :: ((Zpos (XI
+    (XI (XO (XO (XI XH)))))) :: ((Zpos (XI (XO (XI (XO (XI XH)))))) :: ((Zpos
+    (XO (XI (XI (XO (XI XH)))))) :: [])))))))))))))))); sa_target = TCredit;
+    sa_unknown = false } :: ({ sa_codes = ((Zpos (XI (XI (XO (XI
+    XH))))) :: ((Zpos (XO (XI (XO (XI XH))))) :: ((Zpos (XO (XO (XI (XI
+    XH))))) :: ((Zpos (XI (XO (XI (XI XH))))) :: ((Zpos (XI (XO (XI (XO (XO
+    XH)))))) :: ((Zpos (XO (XO (XI (XO (XO XH)))))) :: ((Zpos (XO (XI (XI (XO
+    (XO XH)))))) :: ((Zpos (XI (XI (XI (XO (XO XH)))))) :: ((Zpos (XI (XI (XI
+    (XI (XO XH)))))) :: ((Zpos (XO (XI (XI (XI (XO XH)))))) :: ((Zpos (XO (XO
+    (XO (XO (XI XH)))))) :: ((Zpos (XI (XO (XO (XO (XI XH)))))) :: ((Zpos (XI
+    (XI (XI (XO (XI XH)))))) :: ((Zpos (XO (XO (XO (XI (XI
+    XH)))))) :: [])))))))))))))); sa_target = TDebit; sa_unknown =
+    false } :: [])
 
-(** val overlay : recval -> recval -> recval **)
+(** val seg_iat_arms : seg_arm list **)
 
-let overlay new0 old =
-  app (rev new0) old
+let seg_iat_arms =
+  { sa_codes = ((Zpos (XO (XI (XI (XO XH))))) :: ((Zpos (XI (XO (XI (XO
+    XH))))) :: ((Zpos (XI (XI (XI (XO XH))))) :: ((Zpos (XO (XO (XO (XI
+    XH))))) :: ((Zpos (XO (XO (XO (XO (XO XH)))))) :: ((Zpos (XI (XI (XI (XI
+    XH))))) :: ((Zpos (XI (XO (XO (XO (XO XH)))))) :: ((Zpos (XO (XI (XO (XO
+    (XO XH)))))) :: ((Zpos (XO (XI (XO (XI (XO XH)))))) :: ((Zpos (XI (XO (XO
+    (XI (XO XH)))))) :: ((Zpos (XI (XI (XO (XI (XO XH)))))) :: ((Zpos (XO (XO
+    (XI (XI (XO XH)))))) :: ((Zpos (XO (XO (XI (XO (XI XH)))))) :: ((Zpos (XI
+    (XI (XO (XO (XI XH)))))) :: ((Zpos (XI (XO (XI (XO (XI XH)))))) :: ((Zpos
+    (XO (XI (XI (XO (XI XH)))))) :: [])))))))))))))))); sa_target = TCredit;
+    sa_unknown = false } :: ({ sa_codes = ((Zpos (XI (XI (XO (XI
+    XH))))) :: ((Zpos (XO (XI (XO (XI XH))))) :: ((Zpos (XO (XO (XI (XI
+    XH))))) :: ((Zpos (XI (XO (XI (XI XH))))) :: ((Zpos (XI (XO (XI (XO (XO
+    XH)))))) :: ((Zpos (XO (XO (XI (XO (XO XH)))))) :: ((Zpos (XO (XI (XI (XO
+    (XO XH)))))) :: ((Zpos (XI (XI (XI (XO (XO XH)))))) :: ((Zpos (XI (XI (XI
+    (XI (XO XH)))))) :: ((Zpos (XO (XI (XI (XI (XO XH)))))) :: ((Zpos (XO (XO
+    (XO (XO (XI XH)))))) :: ((Zpos (XI (XO (XO (XO (XI XH)))))) :: ((Zpos (XI
+    (XI (XI (XO (XI XH)))))) :: ((Zpos (XO (XO (XO (XI (XI
+    XH)))))) :: [])))))))))))))); sa_target = TDebit; sa_unknown =
+    false } :: [])
 
-(** val l_ADVBatchControl : layout **)
+(** val seg_adv_arms : seg_arm list **)
 
-let l_ADVBatchControl =
-  { l_name = (String ((Ascii (true, false, false, false, false, false, true,
-    false)), (String ((Ascii (false, false, true, false, false, false, true,
-    false)), (String ((Ascii (false, true, true, false, true, false, true,
-    false)), (String ((Ascii (false, true, false, false, false, false, true,
-    false)), (String ((Ascii (true, false, false, false, false, true, true,
-    false)), (String ((Ascii (false, false, true, false, true, true, true,
-    false)), (String ((Ascii (true, true, false, false, false, true, true,
-    false)), (String ((Ascii (false, false, false, true, false, true, true,
-    false)), (String ((Ascii (true, true, false, false, false, false, true,
-    false)), (String ((Ascii (true, true, true, true, false, true, true,
-    false)), (String ((Ascii (false, true, true, true, false, true, true,
-    false)), (String ((Ascii (false, false, true, false, true, true, true,
-    false)), (String ((Ascii (false, true, false, false, true, true, true,
-    false)), (String ((Ascii (true, true, true, true, false, true, true,
-    false)), (String ((Ascii (false, false, true, true, false, true, true,
-    false)), EmptyString)))))))))))))))))))))))))))))); l_ix = IRune;
-    l_segs = ((SLit ((Npos (XO (XO (XO (XI (XI XH)))))) :: [])) :: ((SItoa
-    (String ((Ascii (true, true, false, false, true, false, true, false)),
-    (String ((Ascii (true, false, true, false, false, true, true, false)),
-    (String ((Ascii (false, true, false, false, true, true, true, false)),
-    (String ((Ascii (false, true, true, false, true, true, true, false)),
-    (String ((Ascii (true, false, false, true, false, true, true, false)),
-    (String ((Ascii (true, true, false, false, false, true, true, false)),
-    (String ((Ascii (true, false, true, false, false, true, true, false)),
-    (String ((Ascii (true, true, false, false, false, false, true, false)),
-    (String ((Ascii (false, false, true, true, false, true, true, false)),
-    (String ((Ascii (true, false, false, false, false, true, true, false)),
-    (String ((Ascii (true, true, false, false, true, true, true, false)),
-    (String ((Ascii (true, true, false, false, true, true, true, false)),
-    (String ((Ascii (true, true, false, false, false, false, true, false)),
-    (String ((Ascii (true, true, true, true, false, true, true, false)),
-    (String ((Ascii (false, false, true, false, false, true, true, false)),
-    (String ((Ascii (true, false, true, false, false, true, true, false)),
-    EmptyString))))))))))))))))))))))))))))))))) :: ((SNum ((String ((Ascii
-    (true, false, true, false, false, false, true, false)), (String ((Ascii
-    (false, true, true, true, false, true, true, false)), (String ((Ascii
-    (false, false, true, false, true, true, true, false)), (String ((Ascii
-    (false, true, false, false, true, true, true, false)), (String ((Ascii
-    (true, false, false, true, true, true, true, false)), (String ((Ascii
-    (true, false, false, false, false, false, true, false)), (String ((Ascii
-    (false, false, true, false, false, true, true, false)), (String ((Ascii
-    (false, false, true, false, false, true, true, false)), (String ((Ascii
-    (true, false, true, false, false, true, true, false)), (String ((Ascii
-    (false, true, true, true, false, true, true, false)), (String ((Ascii
-    (false, false, true, false, false, true, true, false)), (String ((Ascii
-    (true, false, false, false, false, true, true, false)), (String ((Ascii
-    (true, true, false, false, false, false, true, false)), (String ((Ascii
-    (true, true, true, true, false, true, true, false)), (String ((Ascii
-    (true, false, true, false, true, true, true, false)), (String ((Ascii
-    (false, true, true, true, false, true, true, false)), (String ((Ascii
-    (false, false, true, false, true, true, true, false)),
-    EmptyString)))))))))))))))))))))))))))))))))), (S (S (S (S (S (S
-    O)))))))) :: ((SNum ((String ((Ascii (true, false, true, false, false,
-    false, true, false)), (String ((Ascii (false, true, true, true, false,
-    true, true, false)), (String ((Ascii (false, false, true, false, true,
-    true, true, false)), (String ((Ascii (false, true, false, false, true,
-    true, true, false)), (String ((Ascii (true, false, false, true, true,
-    true, true, false)), (String ((Ascii (false, false, false, true, false,
-    false, true, false)), (String ((Ascii (true, false, false, false, false,
-    true, true, false)), (String ((Ascii (true, true, false, false, true,
-    true, true, false)), (String ((Ascii (false, false, false, true, false,
-    true, true, false)), EmptyString)))))))))))))))))), (S (S (S (S (S (S (S
-    (S (S (S O)))))))))))) :: ((SNum ((String ((Ascii (false, false, true,
-    false, true, false, true, false)), (String ((Ascii (true, true, true,
-    true, false, true, true, false)), (String ((Ascii (false, false, true,
-    false, true, true, true, false)), (String ((Ascii (true, false, false,
-    false, false, true, true, false)), (String ((Ascii (false, false, true,
-    true, false, true, true, false)), (String ((Ascii (false, false, true,
-    false, false, false, true, false)), (String ((Ascii (true, false, true,
-    false, false, true, true, false)), (String ((Ascii (false, true, false,
-    false, false, true, true, false)), (String ((Ascii (true, false, false,
-    true, false, true, true, false)), (String ((Ascii (false, false, true,
-    false, true, true, true, false)), (String ((Ascii (true, false, true,
-    false, false, false, true, false)), (String ((Ascii (false, true, true,
-    true, false, true, true, false)), (String ((Ascii (false, false, true,
-    false, true, true, true, false)), (String ((Ascii (false, true, false,
-    false, true, true, true, false)), (String ((Ascii (true, false, false,
-    true, true, true, true, false)), (String ((Ascii (false, false, true,
-    false, false, false, true, false)), (String ((Ascii (true, true, true,
-    true, false, true, true, false)), (String ((Ascii (false, false, true,
-    true, false, true, true, false)), (String ((Ascii (false, false, true,
-    true, false, true, true, false)), (String ((Ascii (true, false, false,
-    false, false, true, true, false)), (String ((Ascii (false, true, false,
-    false, true, true, true, false)), (String ((Ascii (true, false, false,
-    false, false, false, true, false)), (String ((Ascii (true, false, true,
-    true, false, true, true, false)), (String ((Ascii (true, true, true,
-    true, false, true, true, false)), (String ((Ascii (true, false, true,
-    false, true, true, true, false)), (String ((Ascii (false, true, true,
-    true, false, true, true, false)), (String ((Ascii (false, false, true,
-    false, true, true, true, false)),
-    EmptyString)))))))))))))))))))))))))))))))))))))))))))))))))))))), (S (S
-    (S (S (S (S (S (S (S (S (S (S (S (S (S (S (S (S (S (S
-    O)))))))))))))))))))))) :: ((SNum ((String ((Ascii (false, false, true,
-    false, true, false, true, false)), (String ((Ascii (true, true, true,
-    true, false, true, true, false)), (String ((Ascii (false, false, true,
-    false, true, true, true, false)), (String ((Ascii (true, false, false,
-    false, false, true, true, false)), (String ((Ascii (false, false, true,
-    true, false, true, true, false)), (String ((Ascii (true, true, false,
-    false, false, false, true, false)), (String ((Ascii (false, true, false,
-    false, true, true, true, false)), (String ((Ascii (true, false, true,
-    false, false, true, true, false)), (String ((Ascii (false, false, true,
-    false, false, true, true, false)), (String ((Ascii (true, false, false,
-    true, false, true, true, false)), (String ((Ascii (false, false, true,
-    false, true, true, true, false)), (String ((Ascii (true, false, true,
-    false, false, false, true, false)), (String ((Ascii (false, true, true,
-    true, false, true, true, false)), (String ((Ascii (false, false, true,
-    false, true, true, true, false)), (String ((Ascii (false, true, false,
-    false, true, true, true, false)), (String ((Ascii (true, false, false,
-    true, true, true, true, false)), (String ((Ascii (false, false, true,
-    false, false, false, true, false)), (String ((Ascii (true, true, true,
-    true, false, true, true, false)), (String ((Ascii (false, false, true,
-    true, false, true, true, false)), (String ((Ascii (false, false, true,
-    true, false, true, true, false)), (String ((Ascii (true, false, false,
-    false, false, true, true, false)), (String ((Ascii (false, true, false,
-    false, true, true, true, false)), (String ((Ascii (true, false, false,
-    false, false, false, true, false)), (String ((Ascii (true, false, true,
-    true, false, true, true, false)), (String ((Ascii (true, true, true,
-    true, false, true, true, false)), (String ((Ascii (true, false, true,
-    false, true, true, true, false)), (String ((Ascii (false, true, true,
-    true, false, true, true, false)), (String ((Ascii (false, false, true,
-    false, true, true, true, false)),
-    EmptyString)))))))))))))))))))))))))))))))))))))))))))))))))))))))), (S
-    (S (S (S (S (S (S (S (S (S (S (S (S (S (S (S (S (S (S (S
-    O)))))))))))))))))))))) :: ((SAlpha ((String ((Ascii (true, false, false,
-    false, false, false, true, false)), (String ((Ascii (true, true, false,
-    false, false, false, true, false)), (String ((Ascii (false, false, false,
-    true, false, false, true, false)), (String ((Ascii (true, true, true,
-    true, false, false, true, false)), (String ((Ascii (false, false, false,
-    false, true, true, true, false)), (String ((Ascii (true, false, true,
-    false, false, true, true, false)), (String ((Ascii (false, true, false,
-    false, true, true, true, false)), (String ((Ascii (true, false, false,
-    false, false, true, true, false)), (String ((Ascii (false, false, true,
-    false, true, true, true, false)), (String ((Ascii (true, true, true,
-    true, false, true, true, false)), (String ((Ascii (false, true, false,
-    false, true, true, true, false)), (String ((Ascii (false, false, true,
-    false, false, false, true, false)), (String ((Ascii (true, false, false,
-    false, false, true, true, false)), (String ((Ascii (false, false, true,
-    false, true, true, true, false)), (String ((Ascii (true, false, false,
-    false, false, true, true, false)),
-    EmptyString)))))))))))))))))))))))))))))), (S (S (S (S (S (S (S (S (S (S
-    (S (S (S (S (S (S (S (S (S O))))))))))))))))))))) :: ((SStr ((String
-    ((Ascii (true, true, true, true, false, false, true, false)), (String
-    ((Ascii (false, false, true, false, false, false, true, false)), (String
-    ((Ascii (false, true, true, false, false, false, true, false)), (String
-    ((Ascii (true, false, false, true, false, false, true, false)), (String
-    ((Ascii (true, false, false, true, false, false, true, false)), (String
-    ((Ascii (false, false, true, false, false, true, true, false)), (String
-    ((Ascii (true, false, true, false, false, true, true, false)), (String
-    ((Ascii (false, true, true, true, false, true, true, false)), (String
-    ((Ascii (false, false, true, false, true, true, true, false)), (String
-    ((Ascii (true, false, false, true, false, true, true, false)), (String
-    ((Ascii (false, true, true, false, false, true, true, false)), (String
-    ((Ascii (true, false, false, true, false, true, true, false)), (String
-    ((Ascii (true, true, false, false, false, true, true, false)), (String
-    ((Ascii (true, false, false, false, false, true, true, false)), (String
-    ((Ascii (false, false, true, false, true, true, true, false)), (String
-    ((Ascii (true, false, false, true, false, true, true, false)), (String
-    ((Ascii (true, true, true, true, false, true, true, false)), (String
-    ((Ascii (false, true, true, true, false, true, true, false)),
-    EmptyString)))))))))))))))))))))))))))))))))))), (S (S (S (S (S (S (S (S
-    O)))))))))) :: ((SNum ((String ((Ascii (false, true, false, false, false,
-    false, true, false)), (String ((Ascii (true, false, false, false, false,
-    true, true, false)), (String ((Ascii (false, false, true, false, true,
-    true, true, false)), (String ((Ascii (true, true, false, false, false,
-    true, true, false)), (String ((Ascii (false, false, false, true, false,
-    true, true, false)), (String ((Ascii (false, true, true, true, false,
-    false, true, false)), (String ((Ascii (true, false, true, false, true,
-    true, true, false)), (String ((Ascii (true, false, true, true, false,
-    true, true, false)), (String ((Ascii (false, true, false, false, false,
-    true, true, false)), (String ((Ascii (true, false, true, false, false,
-    true, true, false)), (String ((Ascii (false, true, false, false, true,
-    true, true, false)), EmptyString)))))))))))))))))))))), (S (S (S (S (S (S
-    (S O))))))))) :: []))))))))); l_cuts =
-    ((mkcut O (S O) EmptyString []) :: ((mkcut (S O) (S (S (S (S O))))
-                                          (String ((Ascii (true, true, false,
-                                          false, true, false, true, false)),
-                                          (String ((Ascii (true, false, true,
-                                          false, false, true, true, false)),
-                                          (String ((Ascii (false, true,
-                                          false, false, true, true, true,
-                                          false)), (String ((Ascii (false,
-                                          true, true, false, true, true,
-                                          true, false)), (String ((Ascii
-                                          (true, false, false, true, false,
-                                          true, true, false)), (String
-                                          ((Ascii (true, true, false, false,
-                                          false, true, true, false)), (String
-                                          ((Ascii (true, false, true, false,
-                                          false, true, true, false)), (String
-                                          ((Ascii (true, true, false, false,
-                                          false, false, true, false)),
-                                          (String ((Ascii (false, false,
-                                          true, true, false, true, true,
-                                          false)), (String ((Ascii (true,
-                                          false, false, false, false, true,
-                                          true, false)), (String ((Ascii
-                                          (true, true, false, false, true,
-                                          true, true, false)), (String
-                                          ((Ascii (true, true, false, false,
-                                          true, true, true, false)), (String
-                                          ((Ascii (true, true, false, false,
-                                          false, false, true, false)),
-                                          (String ((Ascii (true, true, true,
-                                          true, false, true, true, false)),
-                                          (String ((Ascii (false, false,
-                                          true, false, false, true, true,
-                                          false)), (String ((Ascii (true,
-                                          false, true, false, false, true,
-                                          true, false)),
-                                          EmptyString))))))))))))))))))))))))))))))))
-                                          ((String ((Ascii (false, false,
-                                          false, false, true, true, true,
-                                          false)), (String ((Ascii (true,
-                                          false, false, false, false, true,
-                                          true, false)), (String ((Ascii
-                                          (false, true, false, false, true,
-                                          true, true, false)), (String
-                                          ((Ascii (true, true, false, false,
-                                          true, true, true, false)), (String
-                                          ((Ascii (true, false, true, false,
-                                          false, true, true, false)), (String
-                                          ((Ascii (false, true, true, true,
-                                          false, false, true, false)),
-                                          (String ((Ascii (true, false, true,
-                                          false, true, true, true, false)),
-                                          (String ((Ascii (true, false, true,
-                                          true, false, true, true, false)),
-                                          (String ((Ascii (false, true, true,
-                                          false, false, false, true, false)),
-                                          (String ((Ascii (true, false,
-                                          false, true, false, true, true,
-                                          false)), (String ((Ascii (true,
-                                          false, true, false, false, true,
-                                          true, false)), (String ((Ascii
-                                          (false, false, true, true, false,
-                                          true, true, false)), (String
-                                          ((Ascii (false, false, true, false,
-                                          false, true, true, false)),
-                                          EmptyString)))))))))))))))))))))))))) :: [])) :: (
-    (mkcut (S (S (S (S O)))) (S (S (S (S (S (S (S (S (S (S O))))))))))
-      (String ((Ascii (true, false, true, false, false, false, true, false)),
-      (String ((Ascii (false, true, true, true, false, true, true, false)),
-      (String ((Ascii (false, false, true, false, true, true, true, false)),
-      (String ((Ascii (false, true, false, false, true, true, true, false)),
-      (String ((Ascii (true, false, false, true, true, true, true, false)),
-      (String ((Ascii (true, false, false, false, false, false, true,
-      false)), (String ((Ascii (false, false, true, false, false, true, true,
-      false)), (String ((Ascii (false, false, true, false, false, true, true,
-      false)), (String ((Ascii (true, false, true, false, false, true, true,
-      false)), (String ((Ascii (false, true, true, true, false, true, true,
-      false)), (String ((Ascii (false, false, true, false, false, true, true,
-      false)), (String ((Ascii (true, false, false, false, false, true, true,
-      false)), (String ((Ascii (true, true, false, false, false, false, true,
-      false)), (String ((Ascii (true, true, true, true, false, true, true,
-      false)), (String ((Ascii (true, false, true, false, true, true, true,
-      false)), (String ((Ascii (false, true, true, true, false, true, true,
-      false)), (String ((Ascii (false, false, true, false, true, true, true,
-      false)), EmptyString)))))))))))))))))))))))))))))))))) ((String ((Ascii
-      (false, false, false, false, true, true, true, false)), (String ((Ascii
-      (true, false, false, false, false, true, true, false)), (String ((Ascii
-      (false, true, false, false, true, true, true, false)), (String ((Ascii
-      (true, true, false, false, true, true, true, false)), (String ((Ascii
-      (true, false, true, false, false, true, true, false)), (String ((Ascii
-      (false, true, true, true, false, false, true, false)), (String ((Ascii
-      (true, false, true, false, true, true, true, false)), (String ((Ascii
-      (true, false, true, true, false, true, true, false)), (String ((Ascii
-      (false, true, true, false, false, false, true, false)), (String ((Ascii
-      (true, false, false, true, false, true, true, false)), (String ((Ascii
-      (true, false, true, false, false, true, true, false)), (String ((Ascii
-      (false, false, true, true, false, true, true, false)), (String ((Ascii
-      (false, false, true, false, false, true, true, false)),
-      EmptyString)))))))))))))))))))))))))) :: [])) :: ((mkcut (S (S (S (S (S
-                                                          (S (S (S (S (S
-                                                          O)))))))))) (S (S
-                                                          (S (S (S (S (S (S
-                                                          (S (S (S (S (S (S
-                                                          (S (S (S (S (S (S
-                                                          O))))))))))))))))))))
-                                                          (String ((Ascii
-                                                          (true, false, true,
-                                                          false, false,
-                                                          false, true,
-                                                          false)), (String
-                                                          ((Ascii (false,
-                                                          true, true, true,
-                                                          false, true, true,
-                                                          false)), (String
-                                                          ((Ascii (false,
-                                                          false, true, false,
-                                                          true, true, true,
-                                                          false)), (String
-                                                          ((Ascii (false,
-                                                          true, false, false,
-                                                          true, true, true,
-                                                          false)), (String
-                                                          ((Ascii (true,
-                                                          false, false, true,
-                                                          true, true, true,
-                                                          false)), (String
-                                                          ((Ascii (false,
-                                                          false, false, true,
-                                                          false, false, true,
-                                                          false)), (String
-                                                          ((Ascii (true,
-                                                          false, false,
-                                                          false, false, true,
-                                                          true, false)),
-                                                          (String ((Ascii
-                                                          (true, true, false,
-                                                          false, true, true,
-                                                          true, false)),
-                                                          (String ((Ascii
-                                                          (false, false,
-                                                          false, true, false,
-                                                          true, true,
-                                                          false)),
-                                                          EmptyString))))))))))))))))))
-                                                          ((String ((Ascii
-                                                          (false, false,
-                                                          false, false, true,
-                                                          true, true,
-                                                          false)), (String
-                                                          ((Ascii (true,
-                                                          false, false,
-                                                          false, false, true,
-                                                          true, false)),
-                                                          (String ((Ascii
-                                                          (false, true,
-                                                          false, false, true,
-                                                          true, true,
-                                                          false)), (String
-                                                          ((Ascii (true,
-                                                          true, false, false,
-                                                          true, true, true,
-                                                          false)), (String
-                                                          ((Ascii (true,
-                                                          false, true, false,
-                                                          false, true, true,
-                                                          false)), (String
-                                                          ((Ascii (false,
-                                                          true, true, true,
-                                                          false, false, true,
-                                                          false)), (String
-                                                          ((Ascii (true,
-                                                          false, true, false,
-                                                          true, true, true,
-                                                          false)), (String
-                                                          ((Ascii (true,
-                                                          false, true, true,
-                                                          false, true, true,
-                                                          false)), (String
-                                                          ((Ascii (false,
-                                                          true, true, false,
-                                                          false, false, true,
-                                                          false)), (String
-                                                          ((Ascii (true,
-                                                          false, false, true,
-                                                          false, true, true,
-                                                          false)), (String
-                                                          ((Ascii (true,
-                                                          false, true, false,
-                                                          false, true, true,
-                                                          false)), (String
-                                                          ((Ascii (false,
-                                                          false, true, true,
-                                                          false, true, true,
-                                                          false)), (String
-                                                          ((Ascii (false,
-                                                          false, true, false,
-                                                          false, true, true,
-                                                          false)),
-                                                          EmptyString)))))))))))))))))))))))))) :: [])) :: (
-    (mkcut (S (S (S (S (S (S (S (S (S (S (S (S (S (S (S (S (S (S (S (S
-      O)))))))))))))))))))) (S (S (S (S (S (S (S (S (S (S (S (S (S (S (S (S
-      (S (S (S (S (S (S (S (S (S (S (S (S (S (S (S (S (S (S (S (S (S (S (S (S
-      O)))))))))))))))))))))))))))))))))))))))) (String ((Ascii (false,
-      false, true, false, true, false, true, false)), (String ((Ascii (true,
-      true, true, true, false, true, true, false)), (String ((Ascii (false,
-      false, true, false, true, true, true, false)), (String ((Ascii (true,
-      false, false, false, false, true, true, false)), (String ((Ascii
-      (false, false, true, true, false, true, true, false)), (String ((Ascii
-      (false, false, true, false, false, false, true, false)), (String
-      ((Ascii (true, false, true, false, false, true, true, false)), (String
-      ((Ascii (false, true, false, false, false, true, true, false)), (String
-      ((Ascii (true, false, false, true, false, true, true, false)), (String
-      ((Ascii (false, false, true, false, true, true, true, false)), (String
-      ((Ascii (true, false, true, false, false, false, true, false)), (String
-      ((Ascii (false, true, true, true, false, true, true, false)), (String
-      ((Ascii (false, false, true, false, true, true, true, false)), (String
-      ((Ascii (false, true, false, false, true, true, true, false)), (String
-      ((Ascii (true, false, false, true, true, true, true, false)), (String
-      ((Ascii (false, false, true, false, false, false, true, false)),
-      (String ((Ascii (true, true, true, true, false, true, true, false)),
-      (String ((Ascii (false, false, true, true, false, true, true, false)),
-      (String ((Ascii (false, false, true, true, false, true, true, false)),
-      (String ((Ascii (true, false, false, false, false, true, true, false)),
-      (String ((Ascii (false, true, false, false, true, true, true, false)),
-      (String ((Ascii (true, false, false, false, false, false, true,
-      false)), (String ((Ascii (true, false, true, true, false, true, true,
-      false)), (String ((Ascii (true, true, true, true, false, true, true,
-      false)), (String ((Ascii (true, false, true, false, true, true, true,
-      false)), (String ((Ascii (false, true, true, true, false, true, true,
-      false)), (String ((Ascii (false, false, true, false, true, true, true,
-      false)),
-      EmptyString))))))))))))))))))))))))))))))))))))))))))))))))))))))
-      ((String ((Ascii (false, false, false, false, true, true, true,
-      false)), (String ((Ascii (true, false, false, false, false, true, true,
-      false)), (String ((Ascii (false, true, false, false, true, true, true,
-      false)), (String ((Ascii (true, true, false, false, true, true, true,
-      false)), (String ((Ascii (true, false, true, false, false, true, true,
-      false)), (String ((Ascii (false, true, true, true, false, false, true,
-      false)), (String ((Ascii (true, false, true, false, true, true, true,
-      false)), (String ((Ascii (true, false, true, true, false, true, true,
-      false)), (String ((Ascii (false, true, true, false, false, false, true,
-      false)), (String ((Ascii (true, false, false, true, false, true, true,
-      false)), (String ((Ascii (true, false, true, false, false, true, true,
-      false)), (String ((Ascii (false, false, true, true, false, true, true,
-      false)), (String ((Ascii (false, false, true, false, false, true, true,
-      false)), EmptyString)))))))))))))))))))))))))) :: [])) :: ((mkcut (S (S
-                                                                   (S (S (S
-                                                                   (S (S (S
-                                                                   (S (S (S
-                                                                   (S (S (S
-                                                                   (S (S (S
-                                                                   (S (S (S
-                                                                   (S (S (S
-                                                                   (S (S (S
-                                                                   (S (S (S
-                                                                   (S (S (S
-                                                                   (S (S (S
-                                                                   (S (S (S
-                                                                   (S (S
-                                                                   O))))))))))))))))))))))))))))))))))))))))
-                                                                   (S (S (S
-                                                                   (S (S (S
-                                                                   (S (S (S
-                                                                   (S (S (S
-                                                                   (S (S (S
-                                                                   (S (S (S
-                                                                   (S (S (S
-                                                                   (S (S (S
-                                                                   (S (S (S
-                                                                   (S (S (S
-                                                                   (S (S (S
-                                                                   (S (S (S
-                                                                   (S (S (S
-                                                                   (S (S (S
-                                                                   (S (S (S
-                                                                   (S (S (S
-                                                                   (S (S (S
-                                                                   (S (S (S
-                                                                   (S (S (S
-                                                                   (S (S (S
-                                                                   O))))))))))))))))))))))))))))))))))))))))))))))))))))))))))))
-                                                                   (String
-                                                                   ((Ascii
-                                                                   (false,
-                                                                   false,
-                                                                   true,
-                                                                   false,
-                                                                   true,
-                                                                   false,
-                                                                   true,
-                                                                   false)),
-                                                                   (String
-                                                                   ((Ascii
-                                                                   (true,
-                                                                   true,
-                                                                   true,
-                                                                   true,
-                                                                   false,
-                                                                   true,
-                                                                   true,
-                                                                   false)),
-                                                                   (String
-                                                                   ((Ascii
-                                                                   (false,
-                                                                   false,
-                                                                   true,
-                                                                   false,
-                                                                   true,
-                                                                   true,
-                                                                   true,
-                                                                   false)),
-                                                                   (String
-                                                                   ((Ascii
-                                                                   (true,
-                                                                   false,
-                                                                   false,
-                                                                   false,
-                                                                   false,
-                                                                   true,
-                                                                   true,
-                                                                   false)),
-                                                                   (String
-                                                                   ((Ascii
-                                                                   (false,
-                                                                   false,
-                                                                   true,
-                                                                   true,
-                                                                   false,
-                                                                   true,
-                                                                   true,
-                                                                   false)),
-                                                                   (String
-                                                                   ((Ascii
-                                                                   (true,
-                                                                   true,
-                                                                   false,
-                                                                   false,
-                                                                   false,
-                                                                   false,
-                                                                   true,
-                                                                   false)),
-                                                                   (String
-                                                                   ((Ascii
-                                                                   (false,
-                                                                   true,
-                                                                   false,
-                                                                   false,
-                                                                   true,
-                                                                   true,
-                                                                   true,
-                                                                   false)),
-                                                                   (String
-                                                                   ((Ascii
-                                                                   (true,
-                                                                   false,
-                                                                   true,
-                                                                   false,
-                                                                   false,
-                                                                   true,
-                                                                   true,
-                                                                   false)),
-                                                                   (String
-                                                                   ((Ascii
-                                                                   (false,
-                                                                   false,
-                                                                   true,
-                                                                   false,
-                                                                   false,
-                                                                   true,
-                                                                   true,
-                                                                   false)),
-                                                                   (String
-                                                                   ((Ascii
-                                                                   (true,
-                                                                   false,
-                                                                   false,
-                                                                   true,
-                                                                   false,
-                                                                   true,
-                                                                   true,
-                                                                   false)),
-                                                                   (String
-                                                                   ((Ascii
-                                                                   (false,
-                                                                   false,
-                                                                   true,
-                                                                   false,
-                                                                   true,
-                                                                   true,
-                                                                   true,
-                                                                   false)),
-                                                                   (String
-                                                                   ((Ascii
-                                                                   (true,
-                                                                   false,
-                                                                   true,
-                                                                   false,
-                                                                   false,
-                                                                   false,
-                                                                   true,
-                                                                   false)),
-                                                                   (String
-                                                                   ((Ascii
-                                                                   (false,
-                                                                   true,
-                                                                   true,
-                                                                   true,
-                                                                   false,
-                                                                   true,
-                                                                   true,
-                                                                   false)),
-                                                                   (String
-                                                                   ((Ascii
-                                                                   (false,
-                                                                   false,
-                                                                   true,
-                                                                   false,
-                                                                   true,
-                                                                   true,
-                                                                   true,
-                                                                   false)),
-                                                                   (String
-                                                                   ((Ascii
-                                                                   (false,
-                                                                   true,
-                                                                   false,
-                                                                   false,
-                                                                   true,
-                                                                   true,
-                                                                   true,
-                                                                   false)),
-                                                                   (String
-                                                                   ((Ascii
-                                                                   (true,
-                                                                   false,
-                                                                   false,
-                                                                   true,
-                                                                   true,
-                                                                   true,
-                                                                   true,
-                                                                   false)),
-                                                                   (String
-                                                                   ((Ascii
-                                                                   (false,
-                                                                   false,
-                                                                   true,
-                                                                   false,
-                                                                   false,
-                                                                   false,
-                                                                   true,
-                                                                   false)),
-                                                                   (String
-                                                                   ((Ascii
-                                                                   (true,
-                                                                   true,
-                                                                   true,
-                                                                   true,
-                                                                   false,
-                                                                   true,
-                                                                   true,
-                                                                   false)),
-                                                                   (String
-                                                                   ((Ascii
-                                                                   (false,
-                                                                   false,
-                                                                   true,
-                                                                   true,
-                                                                   false,
-                                                                   true,
-                                                                   true,
-                                                                   false)),
-                                                                   (String
-                                                                   ((Ascii
-                                                                   (false,
-                                                                   false,
-                                                                   true,
-                                                                   true,
-                                                                   false,
-                                                                   true,
-                                                                   true,
-                                                                   false)),
-                                                                   (String
-                                                                   ((Ascii
-                                                                   (true,
-                                                                   false,
-                                                                   false,
-                                                                   false,
-                                                                   false,
-                                                                   true,
-                                                                   true,
-                                                                   false)),
-                                                                   (String
-                                                                   ((Ascii
-                                                                   (false,
-                                                                   true,
-                                                                   false,
-                                                                   false,
-                                                                   true,
-                                                                   true,
-                                                                   true,
-                                                                   false)),
-                                                                   (String
-                                                                   ((Ascii
-                                                                   (true,
-                                                                   false,
-                                                                   false,
-                                                                   false,
-                                                                   false,
-                                                                   false,
-                                                                   true,
-                                                                   false)),
-                                                                   (String
-                                                                   ((Ascii
-                                                                   (true,
-                                                                   false,
-                                                                   true,
-                                                                   true,
-                                                                   false,
-                                                                   true,
-                                                                   true,
-                                                                   false)),
-                                                                   (String
-                                                                   ((Ascii
-                                                                   (true,
-                                                                   true,
-                                                                   true,
-                                                                   true,
-                                                                   false,
-                                                                   true,
-                                                                   true,
-                                                                   false)),
-                                                                   (String
-                                                                   ((Ascii
-                                                                   (true,
-                                                                   false,
-                                                                   true,
-                                                                   false,
-                                                                   true,
-                                                                   true,
-                                                                   true,
-                                                                   false)),
-                                                                   (String
-                                                                   ((Ascii
-                                                                   (false,
-                                                                   true,
-                                                                   true,
-                                                                   true,
-                                                                   false,
-                                                                   true,
-                                                                   true,
-                                                                   false)),
-                                                                   (String
-                                                                   ((Ascii
-                                                                   (false,
-                                                                   false,
-                                                                   true,
-                                                                   false,
-                                                                   true,
-                                                                   true,
-                                                                   true,
-                                                                   false)),
-                                                                   EmptyString))))))))))))))))))))))))))))))))))))))))))))))))))))))))
-                                                                   ((String
-                                                                   ((Ascii
-                                                                   (false,
-                                                                   false,
-                                                                   false,
-                                                                   false,
-                                                                   true,
-                                                                   true,
-                                                                   true,
-                                                                   false)),
-                                                                   (String
-                                                                   ((Ascii
-                                                                   (true,
-                                                                   false,
-                                                                   false,
-                                                                   false,
-                                                                   false,
-                                                                   true,
-                                                                   true,
-                                                                   false)),
-                                                                   (String
-                                                                   ((Ascii
-                                                                   (false,
-                                                                   true,
-                                                                   false,
-                                                                   false,
-                                                                   true,
-                                                                   true,
-                                                                   true,
-                                                                   false)),
-                                                                   (String
-                                                                   ((Ascii
-                                                                   (true,
-                                                                   true,
-                                                                   false,
-                                                                   false,
-                                                                   true,
-                                                                   true,
-                                                                   true,
-                                                                   false)),
-                                                                   (String
-                                                                   ((Ascii
-                                                                   (true,
-                                                                   false,
-                                                                   true,
-                                                                   false,
-                                                                   false,
-                                                                   true,
-                                                                   true,
-                                                                   false)),
-                                                                   (String
-                                                                   ((Ascii
-                                                                   (false,
-                                                                   true,
-                                                                   true,
-                                                                   true,
-                                                                   false,
-                                                                   false,
-                                                                   true,
-                                                                   false)),
-                                                                   (String
-                                                                   ((Ascii
-                                                                   (true,
-                                                                   false,
-                                                                   true,
-                                                                   false,
-                                                                   true,
-                                                                   true,
-                                                                   true,
-                                                                   false)),
-                                                                   (String
-                                                                   ((Ascii
-                                                                   (true,
-                                                                   false,
-                                                                   true,
-                                                                   true,
-                                                                   false,
-                                                                   true,
-                                                                   true,
-                                                                   false)),
-                                                                   (String
-                                                                   ((Ascii
-                                                                   (false,
-                                                                   true,
-                                                                   true,
-                                                                   false,
-                                                                   false,
-                                                                   false,
-                                                                   true,
-                                                                   false)),
-                                                                   (String
-                                                                   ((Ascii
-                                                                   (true,
-                                                                   false,
-                                                                   false,
-                                                                   true,
-                                                                   false,
-                                                                   true,
-                                                                   true,
-                                                                   false)),
-                                                                   (String
-                                                                   ((Ascii
-                                                                   (true,
-                                                                   false,
-                                                                   true,
-                                                                   false,
-                                                                   false,
-                                                                   true,
-                                                                   true,
-                                                                   false)),
-                                                                   (String
-                                                                   ((Ascii
-                                                                   (false,
-                                                                   false,
-                                                                   true,
-                                                                   true,
-                                                                   false,
-                                                                   true,
-                                                                   true,
-                                                                   false)),
-                                                                   (String
-                                                                   ((Ascii
-                                                                   (false,
-                                                                   false,
-                                                                   true,
-                                                                   false,
-                                                                   false,
-                                                                   true,
-                                                                   true,
-                                                                   false)),
-                                                                   EmptyString)))))))))))))))))))))))))) :: [])) :: (
-    (mkcut (S (S (S (S (S (S (S (S (S (S (S (S (S (S (S (S (S (S (S (S (S (S
-      (S (S (S (S (S (S (S (S (S (S (S (S (S (S (S (S (S (S (S (S (S (S (S (S
-      (S (S (S (S (S (S (S (S (S (S (S (S (S (S
-      O)))))))))))))))))))))))))))))))))))))))))))))))))))))))))))) (S (S (S
-      (S (S (S (S (S (S (S (S (S (S (S (S (S (S (S (S (S (S (S (S (S (S (S (S
-      (S (S (S (S (S (S (S (S (S (S (S (S (S (S (S (S (S (S (S (S (S (S (S (S
-      (S (S (S (S (S (S (S (S (S (S (S (S (S (S (S (S (S (S (S (S (S (S (S (S
-      (S (S (S (S
-      O)))))))))))))))))))))))))))))))))))))))))))))))))))))))))))))))))))))))))))))))
-      (String ((Ascii (true, false, false, false, false, false, true,
-      false)), (String ((Ascii (true, true, false, false, false, false, true,
-      false)), (String ((Ascii (false, false, false, true, false, false,
-      true, false)), (String ((Ascii (true, true, true, true, false, false,
-      true, false)), (String ((Ascii (false, false, false, false, true, true,
-      true, false)), (String ((Ascii (true, false, true, false, false, true,
-      true, false)), (String ((Ascii (false, true, false, false, true, true,
-      true, false)), (String ((Ascii (true, false, false, false, false, true,
-      true, false)), (String ((Ascii (false, false, true, false, true, true,
-      true, false)), (String ((Ascii (true, true, true, true, false, true,
-      true, false)), (String ((Ascii (false, true, false, false, true, true,
-      true, false)), (String ((Ascii (false, false, true, false, false,
-      false, true, false)), (String ((Ascii (true, false, false, false,
-      false, true, true, false)), (String ((Ascii (false, false, true, false,
-      true, true, true, false)), (String ((Ascii (true, false, false, false,
-      false, true, true, false)), EmptyString))))))))))))))))))))))))))))))
-      ((String ((Ascii (true, true, false, false, true, true, true, false)),
-      (String ((Ascii (false, false, true, false, true, true, true, false)),
-      (String ((Ascii (false, true, false, false, true, true, true, false)),
-      (String ((Ascii (true, false, false, true, false, true, true, false)),
-      (String ((Ascii (false, true, true, true, false, true, true, false)),
-      (String ((Ascii (true, true, true, false, false, true, true, false)),
-      (String ((Ascii (true, true, false, false, true, true, true, false)),
-      (String ((Ascii (false, true, true, true, false, true, false, false)),
-      (String ((Ascii (false, false, true, false, true, false, true, false)),
-      (String ((Ascii (false, true, false, false, true, true, true, false)),
-      (String ((Ascii (true, false, false, true, false, true, true, false)),
-      (String ((Ascii (true, false, true, true, false, true, true, false)),
-      (String ((Ascii (true, true, false, false, true, false, true, false)),
-      (String ((Ascii (false, false, false, false, true, true, true, false)),
-      (String ((Ascii (true, false, false, false, false, true, true, false)),
-      (String ((Ascii (true, true, false, false, false, true, true, false)),
-      (String ((Ascii (true, false, true, false, false, true, true, false)),
-      EmptyString)))))))))))))))))))))))))))))))))) :: [])) :: ((mkcut (S (S
-                                                                  (S (S (S (S
-                                                                  (S (S (S (S
-                                                                  (S (S (S (S
-                                                                  (S (S (S (S
-                                                                  (S (S (S (S
-                                                                  (S (S (S (S
-                                                                  (S (S (S (S
-                                                                  (S (S (S (S
-                                                                  (S (S (S (S
-                                                                  (S (S (S (S
-                                                                  (S (S (S (S
-                                                                  (S (S (S (S
-                                                                  (S (S (S (S
-                                                                  (S (S (S (S
-                                                                  (S (S (S (S
-                                                                  (S (S (S (S
-                                                                  (S (S (S (S
-                                                                  (S (S (S (S
-                                                                  (S (S (S (S
-                                                                  (S
-                                                                  O)))))))))))))))))))))))))))))))))))))))))))))))))))))))))))))))))))))))))))))))
-                                                                  (S (S (S (S
-                                                                  (S (S (S (S
-                                                                  (S (S (S (S
-                                                                  (S (S (S (S
-                                                                  (S (S (S (S
-                                                                  (S (S (S (S
-                                                                  (S (S (S (S
-                                                                  (S (S (S (S
-                                                                  (S (S (S (S
-                                                                  (S (S (S (S
-                                                                  (S (S (S (S
-                                                                  (S (S (S (S
-                                                                  (S (S (S (S
-                                                                  (S (S (S (S
-                                                                  (S (S (S (S
-                                                                  (S (S (S (S
-                                                                  (S (S (S (S
-                                                                  (S (S (S (S
-                                                                  (S (S (S (S
-                                                                  (S (S (S (S
-                                                                  (S (S (S (S
-                                                                  (S (S (S
-                                                                  O)))))))))))))))))))))))))))))))))))))))))))))))))))))))))))))))))))))))))))))))))))))))
-                                                                  (String
-                                                                  ((Ascii
-                                                                  (true,
-                                                                  true, true,
-                                                                  true,
-                                                                  false,
-                                                                  false,
-                                                                  true,
-                                                                  false)),
-                                                                  (String
-                                                                  ((Ascii
-                                                                  (false,
-                                                                  false,
-                                                                  true,
-                                                                  false,
-                                                                  false,
-                                                                  false,
-                                                                  true,
-                                                                  false)),
-                                                                  (String
-                                                                  ((Ascii
-                                                                  (false,
-                                                                  true, true,
-                                                                  false,
-                                                                  false,
-                                                                  false,
-                                                                  true,
-                                                                  false)),
-                                                                  (String
-                                                                  ((Ascii
-                                                                  (true,
-                                                                  false,
-                                                                  false,
-                                                                  true,
-                                                                  false,
-                                                                  false,
-                                                                  true,
-                                                                  false)),
-                                                                  (String
-                                                                  ((Ascii
-                                                                  (true,
-                                                                  false,
-                                                                  false,
-                                                                  true,
-                                                                  false,
-                                                                  false,
-                                                                  true,
-                                                                  false)),
-                                                                  (String
-                                                                  ((Ascii
-                                                                  (false,
-                                                                  false,
-                                                                  true,
-                                                                  false,
-                                                                  false,
-                                                                  true, true,
-                                                                  false)),
-                                                                  (String
-                                                                  ((Ascii
-                                                                  (true,
-                                                                  false,
-                                                                  true,
-                                                                  false,
-                                                                  false,
-                                                                  true, true,
-                                                                  false)),
-                                                                  (String
-                                                                  ((Ascii
-                                                                  (false,
-                                                                  true, true,
-                                                                  true,
-                                                                  false,
-                                                                  true, true,
-                                                                  false)),
-                                                                  (String
-                                                                  ((Ascii
-                                                                  (false,
-                                                                  false,
-                                                                  true,
-                                                                  false,
-                                                                  true, true,
-                                                                  true,
-                                                                  false)),
-                                                                  (String
-                                                                  ((Ascii
-                                                                  (true,
-                                                                  false,
-                                                                  false,
-                                                                  true,
-                                                                  false,
-                                                                  true, true,
-                                                                  false)),
-                                                                  (String
-                                                                  ((Ascii
-                                                                  (false,
-                                                                  true, true,
-                                                                  false,
-                                                                  false,
-                                                                  true, true,
-                                                                  false)),
-                                                                  (String
-                                                                  ((Ascii
-                                                                  (true,
-                                                                  false,
-                                                                  false,
-                                                                  true,
-                                                                  false,
-                                                                  true, true,
-                                                                  false)),
-                                                                  (String
-                                                                  ((Ascii
-                                                                  (true,
-                                                                  true,
-                                                                  false,
-                                                                  false,
-                                                                  false,
-                                                                  true, true,
-                                                                  false)),
-                                                                  (String
-                                                                  ((Ascii
-                                                                  (true,
-                                                                  false,
-                                                                  false,
-                                                                  false,
-                                                                  false,
-                                                                  true, true,
-                                                                  false)),
-                                                                  (String
-                                                                  ((Ascii
-                                                                  (false,
-                                                                  false,
-                                                                  true,
-                                                                  false,
-                                                                  true, true,
-                                                                  true,
-                                                                  false)),
-                                                                  (String
-                                                                  ((Ascii
-                                                                  (true,
-                                                                  false,
-                                                                  false,
-                                                                  true,
-                                                                  false,
-                                                                  true, true,
-                                                                  false)),
-                                                                  (String
-                                                                  ((Ascii
-                                                                  (true,
-                                                                  true, true,
-                                                                  true,
-                                                                  false,
-                                                                  true, true,
-                                                                  false)),
-                                                                  (String
-                                                                  ((Ascii
-                                                                  (false,
-                                                                  true, true,
-                                                                  true,
-                                                                  false,
-                                                                  true, true,
-                                                                  false)),
-                                                                  EmptyString))))))))))))))))))))))))))))))))))))
-                                                                  ((String
-                                                                  ((Ascii
-                                                                  (false,
-                                                                  false,
-                                                                  false,
-                                                                  false,
-                                                                  true, true,
-                                                                  true,
-                                                                  false)),
-                                                                  (String
-                                                                  ((Ascii
-                                                                  (true,
-                                                                  false,
-                                                                  false,
-                                                                  false,
-                                                                  false,
-                                                                  true, true,
-                                                                  false)),
-                                                                  (String
-                                                                  ((Ascii
-                                                                  (false,
-                                                                  true,
-                                                                  false,
-                                                                  false,
-                                                                  true, true,
-                                                                  true,
-                                                                  false)),
-                                                                  (String
-                                                                  ((Ascii
-                                                                  (true,
-                                                                  true,
-                                                                  false,
-                                                                  false,
-                                                                  true, true,
-                                                                  true,
-                                                                  false)),
-                                                                  (String
-                                                                  ((Ascii
-                                                                  (true,
-                                                                  false,
-                                                                  true,
-                                                                  false,
-                                                                  false,
-                                                                  true, true,
-                                                                  false)),
-                                                                  (String
-                                                                  ((Ascii
-                                                                  (true,
-                                                                  true,
-                                                                  false,
-                                                                  false,
-                                                                  true,
-                                                                  false,
-                                                                  true,
-                                                                  false)),
-                                                                  (String
-                                                                  ((Ascii
-                                                                  (false,
-                                                                  false,
-                                                                  true,
-                                                                  false,
-                                                                  true, true,
-                                                                  true,
-                                                                  false)),
-                                                                  (String
-                                                                  ((Ascii
-                                                                  (false,
-                                                                  true,
-                                                                  false,
-                                                                  false,
-                                                                  true, true,
-                                                                  true,
-                                                                  false)),
-                                                                  (String
-                                                                  ((Ascii
-                                                                  (true,
-                                                                  false,
-                                                                  false,
-                                                                  true,
-                                                                  false,
-                                                                  true, true,
-                                                                  false)),
-                                                                  (String
-                                                                  ((Ascii
-                                                                  (false,
-                                                                  true, true,
-                                                                  true,
-                                                                  false,
-                                                                  true, true,
-                                                                  false)),
-                                                                  (String
-                                                                  ((Ascii
-                                                                  (true,
-                                                                  true, true,
-                                                                  false,
-                                                                  false,
-                                                                  true, true,
-                                                                  false)),
-                                                                  (String
-                                                                  ((Ascii
-                                                                  (false,
-                                                                  true, true,
-                                                                  false,
-                                                                  false,
-                                                                  false,
-                                                                  true,
-                                                                  false)),
-                                                                  (String
-                                                                  ((Ascii
-                                                                  (true,
-                                                                  false,
-                                                                  false,
-                                                                  true,
-                                                                  false,
-                                                                  true, true,
-                                                                  false)),
-                                                                  (String
-                                                                  ((Ascii
-                                                                  (true,
-                                                                  false,
-                                                                  true,
-                                                                  false,
-                                                                  false,
-                                                                  true, true,
-                                                                  false)),
-                                                                  (String
-                                                                  ((Ascii
-                                                                  (false,
-                                                                  false,
-                                                                  true, true,
-                                                                  false,
-                                                                  true, true,
-                                                                  false)),
-                                                                  (String
-                                                                  ((Ascii
-                                                                  (false,
-                                                                  false,
-                                                                  true,
-                                                                  false,
-                                                                  false,
-                                                                  true, true,
-                                                                  false)),
-                                                                  EmptyString)))))))))))))))))))))))))))))))) :: [])) :: (
-    (mkcut (S (S (S (S (S (S (S (S (S (S (S (S (S (S (S (S (S (S (S (S (S (S
-      (S (S (S (S (S (S (S (S (S (S (S (S (S (S (S (S (S (S (S (S (S (S (S (S
-      (S (S (S (S (S (S (S (S (S (S (S (S (S (S (S (S (S (S (S (S (S (S (S (S
-      (S (S (S (S (S (S (S (S (S (S (S (S (S (S (S (S (S
-      O)))))))))))))))))))))))))))))))))))))))))))))))))))))))))))))))))))))))))))))))))))))))
-      (S (S (S (S (S (S (S (S (S (S (S (S (S (S (S (S (S (S (S (S (S (S (S (S
-      (S (S (S (S (S (S (S (S (S (S (S (S (S (S (S (S (S (S (S (S (S (S (S (S
-      (S (S (S (S (S (S (S (S (S (S (S (S (S (S (S (S (S (S (S (S (S (S (S (S
-      (S (S (S (S (S (S (S (S (S (S (S (S (S (S (S (S (S (S (S (S (S (S
-      O))))))))))))))))))))))))))))))))))))))))))))))))))))))))))))))))))))))))))))))))))))))))))))))
-      (String ((Ascii (false, true, false, false, false, false, true,
-      false)), (String ((Ascii (true, false, false, false, false, true, true,
-      false)), (String ((Ascii (false, false, true, false, true, true, true,
-      false)), (String ((Ascii (true, true, false, false, false, true, true,
-      false)), (String ((Ascii (false, false, false, true, false, true, true,
-      false)), (String ((Ascii (false, true, true, true, false, false, true,
-      false)), (String ((Ascii (true, false, true, false, true, true, true,
-      false)), (String ((Ascii (true, false, true, true, false, true, true,
-      false)), (String ((Ascii (false, true, false, false, false, true, true,
-      false)), (String ((Ascii (true, false, true, false, false, true, true,
-      false)), (String ((Ascii (false, true, false, false, true, true, true,
-      false)), EmptyString)))))))))))))))))))))) ((String ((Ascii (false,
-      false, false, false, true, true, true, false)), (String ((Ascii (true,
-      false, false, false, false, true, true, false)), (String ((Ascii
-      (false, true, false, false, true, true, true, false)), (String ((Ascii
-      (true, true, false, false, true, true, true, false)), (String ((Ascii
-      (true, false, true, false, false, true, true, false)), (String ((Ascii
-      (false, true, true, true, false, false, true, false)), (String ((Ascii
-      (true, false, true, false, true, true, true, false)), (String ((Ascii
-      (true, false, true, true, false, true, true, false)), (String ((Ascii
-      (false, true, true, false, false, false, true, false)), (String ((Ascii
-      (true, false, false, true, false, true, true, false)), (String ((Ascii
-      (true, false, true, false, false, true, true, false)), (String ((Ascii
-      (false, false, true, true, false, true, true, false)), (String ((Ascii
-      (false, false, true, false, false, true, true, false)),
-      EmptyString)))))))))))))))))))))))))) :: [])) :: []))))))))) }
+let seg_adv_arms =
+  { sa_codes = ((Zpos (XI (XO (XO (XO (XI (XO XH))))))) :: ((Zpos (XI (XI (XO
+    (XO (XI (XO XH))))))) :: ((Zpos (XI (XO (XI (XO (XI (XO
+    XH))))))) :: ((Zpos (XI (XI (XI (XO (XI (XO XH))))))) :: []))));
+    sa_target = TCredit; sa_unknown = false } :: ({ sa_codes = ((Zpos (XO (XI
+    (XO (XO (XI (XO XH))))))) :: ((Zpos (XO (XO (XI (XO (XI (XO
+    XH))))))) :: ((Zpos (XO (XI (XI (XO (XI (XO XH))))))) :: ((Zpos (XO (XO
+    (XO (XI (XI (XO XH))))))) :: [])))); sa_target = TDebit; sa_unknown =
+    false } :: [])
 
-(** val l_ADVEntryDetail : layout **)
+(** val amount_std_arms : seg_arm list **)
 
-let l_ADVEntryDetail =
-  { l_name = (String ((Ascii (true, false, false, false, false, false, true,
-    false)), (String ((Ascii (false, false, true, false, false, false, true,
-    false)), (String ((Ascii (false, true, true, false, true, false, true,
-    false)), (String ((Ascii (true, false, true, false, false, false, true,
-    false)), (String ((Ascii (false, true, true, true, false, true, true,
-    false)), (String ((Ascii (false, false, true, false, true, true, true,
-    false)), (String ((Ascii (false, true, false, false, true, true, true,
-    false)), (String ((Ascii (true, false, false, true, true, true, true,
-    false)), (String ((Ascii (false, false, true, false, false, false, true,
-    false)), (String ((Ascii (true, false, true, false, false, true, true,
-    false)), (String ((Ascii (false, false, true, false, true, true, true,
-    false)), (String ((Ascii (true, false, false, false, false, true, true,
-    false)), (String ((Ascii (true, false, false, true, false, true, true,
-    false)), (String ((Ascii (false, false, true, true, false, true, true,
-    false)), EmptyString)))))))))))))))))))))))))))); l_ix = IRune; l_segs =
-    ((SLit ((Npos (XO (XI (XI (XO (XI XH)))))) :: [])) :: ((SItoa (String
-    ((Ascii (false, false, true, false, true, false, true, false)), (String
-    ((Ascii (false, true, false, false, true, true, true, false)), (String
-    ((Ascii (true, false, false, false, false, true, true, false)), (String
-    ((Ascii (false, true, true, true, false, true, true, false)), (String
-    ((Ascii (true, true, false, false, true, true, true, false)), (String
-    ((Ascii (true, false, false, false, false, true, true, false)), (String
-    ((Ascii (true, true, false, false, false, true, true, false)), (String
-    ((Ascii (false, false, true, false, true, true, true, false)), (String
-    ((Ascii (true, false, false, true, false, true, true, false)), (String
-    ((Ascii (true, true, true, true, false, true, true, false)), (String
-    ((Ascii (false, true, true, true, false, true, true, false)), (String
-    ((Ascii (true, true, false, false, false, false, true, false)), (String
-    ((Ascii (true, true, true, true, false, true, true, false)), (String
-    ((Ascii (false, false, true, false, false, true, true, false)), (String
-    ((Ascii (true, false, true, false, false, true, true, false)),
-    EmptyString))))))))))))))))))))))))))))))) :: ((SStr ((String ((Ascii
-    (false, true, false, false, true, false, true, false)), (String ((Ascii
-    (false, false, true, false, false, false, true, false)), (String ((Ascii
-    (false, true, true, false, false, false, true, false)), (String ((Ascii
-    (true, false, false, true, false, false, true, false)), (String ((Ascii
-    (true, false, false, true, false, false, true, false)), (String ((Ascii
-    (false, false, true, false, false, true, true, false)), (String ((Ascii
-    (true, false, true, false, false, true, true, false)), (String ((Ascii
-    (false, true, true, true, false, true, true, false)), (String ((Ascii
-    (false, false, true, false, true, true, true, false)), (String ((Ascii
-    (true, false, false, true, false, true, true, false)), (String ((Ascii
-    (false, true, true, false, false, true, true, false)), (String ((Ascii
-    (true, false, false, true, false, true, true, false)), (String ((Ascii
-    (true, true, false, false, false, true, true, false)), (String ((Ascii
-    (true, false, false, false, false, true, true, false)), (String ((Ascii
-    (false, false, true, false, true, true, true, false)), (String ((Ascii
-    (true, false, false, true, false, true, true, false)), (String ((Ascii
-    (true, true, true, true, false, true, true, false)), (String ((Ascii
-    (false, true, true, true, false, true, true, false)),
-    EmptyString)))))))))))))))))))))))))))))))))))), (S (S (S (S (S (S (S (S
-    O)))))))))) :: ((SRaw (String ((Ascii (true, true, false, false, false,
-    false, true, false)), (String ((Ascii (false, false, false, true, false,
-    true, true, false)), (String ((Ascii (true, false, true, false, false,
-    true, true, false)), (String ((Ascii (true, true, false, false, false,
-    true, true, false)), (String ((Ascii (true, true, false, true, false,
-    true, true, false)), (String ((Ascii (false, false, true, false, false,
-    false, true, false)), (String ((Ascii (true, false, false, true, false,
-    true, true, false)), (String ((Ascii (true, true, true, false, false,
-    true, true, false)), (String ((Ascii (true, false, false, true, false,
-    true, true, false)), (String ((Ascii (false, false, true, false, true,
-    true, true, false)), EmptyString))))))))))))))))))))) :: ((SAlpha
-    ((String ((Ascii (false, false, true, false, false, false, true, false)),
-    (String ((Ascii (false, true, true, false, false, false, true, false)),
-    (String ((Ascii (true, false, false, true, false, false, true, false)),
-    (String ((Ascii (true, false, false, false, false, false, true, false)),
-    (String ((Ascii (true, true, false, false, false, true, true, false)),
-    (String ((Ascii (true, true, false, false, false, true, true, false)),
-    (String ((Ascii (true, true, true, true, false, true, true, false)),
-    (String ((Ascii (true, false, true, false, true, true, true, false)),
-    (String ((Ascii (false, true, true, true, false, true, true, false)),
-    (String ((Ascii (false, false, true, false, true, true, true, false)),
-    (String ((Ascii (false, true, true, true, false, false, true, false)),
-    (String ((Ascii (true, false, true, false, true, true, true, false)),
-    (String ((Ascii (true, false, true, true, false, true, true, false)),
-    (String ((Ascii (false, true, false, false, false, true, true, false)),
-    (String ((Ascii (true, false, true, false, false, true, true, false)),
-    (String ((Ascii (false, true, false, false, true, true, true, false)),
-    EmptyString)))))))))))))))))))))))))))))))), (S (S (S (S (S (S (S (S (S
-    (S (S (S (S (S (S O))))))))))))))))) :: ((SNum ((String ((Ascii (true,
-    false, false, false, false, false, true, false)), (String ((Ascii (true,
-    false, true, true, false, true, true, false)), (String ((Ascii (true,
-    true, true, true, false, true, true, false)), (String ((Ascii (true,
-    false, true, false, true, true, true, false)), (String ((Ascii (false,
-    true, true, true, false, true, true, false)), (String ((Ascii (false,
-    false, true, false, true, true, true, false)), EmptyString)))))))))))),
-    (S (S (S (S (S (S (S (S (S (S (S (S O)))))))))))))) :: ((SStr ((String
-    ((Ascii (true, false, false, false, false, false, true, false)), (String
-    ((Ascii (false, false, true, false, false, true, true, false)), (String
-    ((Ascii (false, true, true, false, true, true, true, false)), (String
-    ((Ascii (true, false, false, true, false, true, true, false)), (String
-    ((Ascii (true, true, false, false, false, true, true, false)), (String
-    ((Ascii (true, false, true, false, false, true, true, false)), (String
-    ((Ascii (false, true, false, false, true, false, true, false)), (String
-    ((Ascii (true, true, true, true, false, true, true, false)), (String
-    ((Ascii (true, false, true, false, true, true, true, false)), (String
-    ((Ascii (false, false, true, false, true, true, true, false)), (String
-    ((Ascii (true, false, false, true, false, true, true, false)), (String
-    ((Ascii (false, true, true, true, false, true, true, false)), (String
-    ((Ascii (true, true, true, false, false, true, true, false)), (String
-    ((Ascii (false, true, true, true, false, false, true, false)), (String
-    ((Ascii (true, false, true, false, true, true, true, false)), (String
-    ((Ascii (true, false, true, true, false, true, true, false)), (String
-    ((Ascii (false, true, false, false, false, true, true, false)), (String
-    ((Ascii (true, false, true, false, false, true, true, false)), (String
-    ((Ascii (false, true, false, false, true, true, true, false)),
-    EmptyString)))))))))))))))))))))))))))))))))))))), (S (S (S (S (S (S (S
-    (S (S O))))))))))) :: ((SAlpha ((String ((Ascii (false, true, true,
-    false, false, false, true, false)), (String ((Ascii (true, false, false,
-    true, false, true, true, false)), (String ((Ascii (false, false, true,
-    true, false, true, true, false)), (String ((Ascii (true, false, true,
-    false, false, true, true, false)), (String ((Ascii (true, false, false,
-    true, false, false, true, false)), (String ((Ascii (false, false, true,
-    false, false, true, true, false)), (String ((Ascii (true, false, true,
-    false, false, true, true, false)), (String ((Ascii (false, true, true,
-    true, false, true, true, false)), (String ((Ascii (false, false, true,
-    false, true, true, true, false)), (String ((Ascii (true, false, false,
-    true, false, true, true, false)), (String ((Ascii (false, true, true,
-    false, false, true, true, false)), (String ((Ascii (true, false, false,
-    true, false, true, true, false)), (String ((Ascii (true, true, false,
-    false, false, true, true, false)), (String ((Ascii (true, false, false,
-    false, false, true, true, false)), (String ((Ascii (false, false, true,
-    false, true, true, true, false)), (String ((Ascii (true, false, false,
-    true, false, true, true, false)), (String ((Ascii (true, true, true,
-    true, false, true, true, false)), (String ((Ascii (false, true, true,
-    true, false, true, true, false)),
-    EmptyString)))))))))))))))))))))))))))))))))))), (S (S (S (S (S
-    O))))))) :: ((SAlpha ((String ((Ascii (true, false, false, false, false,
-    false, true, false)), (String ((Ascii (true, true, false, false, false,
-    false, true, false)), (String ((Ascii (false, false, false, true, false,
-    false, true, false)), (String ((Ascii (true, true, true, true, false,
-    false, true, false)), (String ((Ascii (false, false, false, false, true,
-    true, true, false)), (String ((Ascii (true, false, true, false, false,
-    true, true, false)), (String ((Ascii (false, true, false, false, true,
-    true, true, false)), (String ((Ascii (true, false, false, false, false,
-    true, true, false)), (String ((Ascii (false, false, true, false, true,
-    true, true, false)), (String ((Ascii (true, true, true, true, false,
-    true, true, false)), (String ((Ascii (false, true, false, false, true,
-    true, true, false)), (String ((Ascii (false, false, true, false, false,
-    false, true, false)), (String ((Ascii (true, false, false, false, false,
-    true, true, false)), (String ((Ascii (false, false, true, false, true,
-    true, true, false)), (String ((Ascii (true, false, false, false, false,
-    true, true, false)), EmptyString)))))))))))))))))))))))))))))), (S
-    O))) :: ((SAlpha ((String ((Ascii (true, false, false, true, false,
-    false, true, false)), (String ((Ascii (false, true, true, true, false,
-    true, true, false)), (String ((Ascii (false, false, true, false, false,
-    true, true, false)), (String ((Ascii (true, false, false, true, false,
-    true, true, false)), (String ((Ascii (false, true, true, false, true,
-    true, true, false)), (String ((Ascii (true, false, false, true, false,
-    true, true, false)), (String ((Ascii (false, false, true, false, false,
-    true, true, false)), (String ((Ascii (true, false, true, false, true,
-    true, true, false)), (String ((Ascii (true, false, false, false, false,
-    true, true, false)), (String ((Ascii (false, false, true, true, false,
-    true, true, false)), (String ((Ascii (false, true, true, true, false,
-    false, true, false)), (String ((Ascii (true, false, false, false, false,
-    true, true, false)), (String ((Ascii (true, false, true, true, false,
-    true, true, false)), (String ((Ascii (true, false, true, false, false,
-    true, true, false)), EmptyString)))))))))))))))))))))))))))), (S (S (S (S
-    (S (S (S (S (S (S (S (S (S (S (S (S (S (S (S (S (S (S
-    O)))))))))))))))))))))))) :: ((SAlpha ((String ((Ascii (false, false,
-    true, false, false, false, true, false)), (String ((Ascii (true, false,
-    false, true, false, true, true, false)), (String ((Ascii (true, true,
-    false, false, true, true, true, false)), (String ((Ascii (true, true,
-    false, false, false, true, true, false)), (String ((Ascii (false, true,
-    false, false, true, true, true, false)), (String ((Ascii (true, false,
-    true, false, false, true, true, false)), (String ((Ascii (false, false,
-    true, false, true, true, true, false)), (String ((Ascii (true, false,
-    false, true, false, true, true, false)), (String ((Ascii (true, true,
-    true, true, false, true, true, false)), (String ((Ascii (false, true,
-    true, true, false, true, true, false)), (String ((Ascii (true, false,
-    false, false, false, true, true, false)), (String ((Ascii (false, true,
-    false, false, true, true, true, false)), (String ((Ascii (true, false,
-    false, true, true, true, true, false)), (String ((Ascii (false, false,
-    true, false, false, false, true, false)), (String ((Ascii (true, false,
-    false, false, false, true, true, false)), (String ((Ascii (false, false,
-    true, false, true, true, true, false)), (String ((Ascii (true, false,
-    false, false, false, true, true, false)),
-    EmptyString)))))))))))))))))))))))))))))))))), (S (S O)))) :: ((SItoa
-    (String ((Ascii (true, false, false, false, false, false, true, false)),
-    (String ((Ascii (false, false, true, false, false, true, true, false)),
-    (String ((Ascii (false, false, true, false, false, true, true, false)),
-    (String ((Ascii (true, false, true, false, false, true, true, false)),
-    (String ((Ascii (false, true, true, true, false, true, true, false)),
-    (String ((Ascii (false, false, true, false, false, true, true, false)),
-    (String ((Ascii (true, false, false, false, false, true, true, false)),
-    (String ((Ascii (false, true, false, false, true, false, true, false)),
-    (String ((Ascii (true, false, true, false, false, true, true, false)),
-    (String ((Ascii (true, true, false, false, false, true, true, false)),
-    (String ((Ascii (true, true, true, true, false, true, true, false)),
-    (String ((Ascii (false, true, false, false, true, true, true, false)),
-    (String ((Ascii (false, false, true, false, false, true, true, false)),
-    (String ((Ascii (true, false, false, true, false, false, true, false)),
-    (String ((Ascii (false, true, true, true, false, true, true, false)),
-    (String ((Ascii (false, false, true, false, false, true, true, false)),
-    (String ((Ascii (true, false, false, true, false, true, true, false)),
-    (String ((Ascii (true, true, false, false, false, true, true, false)),
-    (String ((Ascii (true, false, false, false, false, true, true, false)),
-    (String ((Ascii (false, false, true, false, true, true, true, false)),
-    (String ((Ascii (true, true, true, true, false, true, true, false)),
-    (String ((Ascii (false, true, false, false, true, true, true, false)),
-    EmptyString))))))))))))))))))))))))))))))))))))))))))))) :: ((SAlpha
-    ((String ((Ascii (true, false, false, false, false, false, true, false)),
-    (String ((Ascii (true, true, false, false, false, false, true, false)),
-    (String ((Ascii (false, false, false, true, false, false, true, false)),
-    (String ((Ascii (true, true, true, true, false, false, true, false)),
-    (String ((Ascii (false, false, false, false, true, true, true, false)),
-    (String ((Ascii (true, false, true, false, false, true, true, false)),
-    (String ((Ascii (false, true, false, false, true, true, true, false)),
-    (String ((Ascii (true, false, false, false, false, true, true, false)),
-    (String ((Ascii (false, false, true, false, true, true, true, false)),
-    (String ((Ascii (true, true, true, true, false, true, true, false)),
-    (String ((Ascii (false, true, false, false, true, true, true, false)),
-    (String ((Ascii (false, true, false, false, true, false, true, false)),
-    (String ((Ascii (true, true, true, true, false, true, true, false)),
-    (String ((Ascii (true, false, true, false, true, true, true, false)),
-    (String ((Ascii (false, false, true, false, true, true, true, false)),
-    (String ((Ascii (true, false, false, true, false, true, true, false)),
-    (String ((Ascii (false, true, true, true, false, true, true, false)),
-    (String ((Ascii (true, true, true, false, false, true, true, false)),
-    (String ((Ascii (false, true, true, true, false, false, true, false)),
-    (String ((Ascii (true, false, true, false, true, true, true, false)),
-    (String ((Ascii (true, false, true, true, false, true, true, false)),
-    (String ((Ascii (false, true, false, false, false, true, true, false)),
-    (String ((Ascii (true, false, true, false, false, true, true, false)),
-    (String ((Ascii (false, true, false, false, true, true, true, false)),
-    EmptyString)))))))))))))))))))))))))))))))))))))))))))))))), (S (S (S (S
-    (S (S (S (S O)))))))))) :: ((SNum ((String ((Ascii (false, true, false,
-    true, false, false, true, false)), (String ((Ascii (true, false, true,
-    false, true, true, true, false)), (String ((Ascii (false, false, true,
-    true, false, true, true, false)), (String ((Ascii (true, false, false,
-    true, false, true, true, false)), (String ((Ascii (true, false, false,
-    false, false, true, true, false)), (String ((Ascii (false, true, true,
-    true, false, true, true, false)), (String ((Ascii (false, false, true,
-    false, false, false, true, false)), (String ((Ascii (true, false, false,
-    false, false, true, true, false)), (String ((Ascii (true, false, false,
-    true, true, true, true, false)), EmptyString)))))))))))))))))), (S (S (S
-    O))))) :: ((SNum ((String ((Ascii (true, true, false, false, true, false,
-    true, false)), (String ((Ascii (true, false, true, false, false, true,
-    true, false)), (String ((Ascii (true, false, false, false, true, true,
-    true, false)), (String ((Ascii (true, false, true, false, true, true,
-    true, false)), (String ((Ascii (true, false, true, false, false, true,
-    true, false)), (String ((Ascii (false, true, true, true, false, true,
-    true, false)), (String ((Ascii (true, true, false, false, false, true,
-    true, false)), (String ((Ascii (true, false, true, false, false, true,
-    true, false)), (String ((Ascii (false, true, true, true, false, false,
-    true, false)), (String ((Ascii (true, false, true, false, true, true,
-    true, false)), (String ((Ascii (true, false, true, true, false, true,
-    true, false)), (String ((Ascii (false, true, false, false, false, true,
-    true, false)), (String ((Ascii (true, false, true, false, false, true,
-    true, false)), (String ((Ascii (false, true, false, false, true, true,
-    true, false)), EmptyString)))))))))))))))))))))))))))), (S (S (S (S
-    O)))))) :: []))))))))))))))); l_cuts =
-    ((mkcut (S O) (S (S (S O))) (String ((Ascii (false, false, true, false,
-       true, false, true, false)), (String ((Ascii (false, true, false,
-       false, true, true, true, false)), (String ((Ascii (true, false, false,
-       false, false, true, true, false)), (String ((Ascii (false, true, true,
-       true, false, true, true, false)), (String ((Ascii (true, true, false,
-       false, true, true, true, false)), (String ((Ascii (true, false, false,
-       false, false, true, true, false)), (String ((Ascii (true, true, false,
-       false, false, true, true, false)), (String ((Ascii (false, false,
-       true, false, true, true, true, false)), (String ((Ascii (true, false,
-       false, true, false, true, true, false)), (String ((Ascii (true, true,
-       true, true, false, true, true, false)), (String ((Ascii (false, true,
-       true, true, false, true, true, false)), (String ((Ascii (true, true,
-       false, false, false, false, true, false)), (String ((Ascii (true,
-       true, true, true, false, true, true, false)), (String ((Ascii (false,
-       false, true, false, false, true, true, false)), (String ((Ascii (true,
-       false, true, false, false, true, true, false)),
-       EmptyString)))))))))))))))))))))))))))))) ((String ((Ascii (false,
-       false, false, false, true, true, true, false)), (String ((Ascii (true,
-       false, false, false, false, true, true, false)), (String ((Ascii
-       (false, true, false, false, true, true, true, false)), (String ((Ascii
-       (true, true, false, false, true, true, true, false)), (String ((Ascii
-       (true, false, true, false, false, true, true, false)), (String ((Ascii
-       (false, true, true, true, false, false, true, false)), (String ((Ascii
-       (true, false, true, false, true, true, true, false)), (String ((Ascii
-       (true, false, true, true, false, true, true, false)), (String ((Ascii
-       (false, true, true, false, false, false, true, false)), (String
-       ((Ascii (true, false, false, true, false, true, true, false)), (String
-       ((Ascii (true, false, true, false, false, true, true, false)), (String
-       ((Ascii (false, false, true, true, false, true, true, false)), (String
-       ((Ascii (false, false, true, false, false, true, true, false)),
-       EmptyString)))))))))))))))))))))))))) :: [])) :: ((mkcut (S (S (S O)))
-                                                           (S (S (S (S (S (S
-                                                           (S (S (S (S (S
-                                                           O)))))))))))
-                                                           (String ((Ascii
-                                                           (false, true,
-                                                           false, false,
-                                                           true, false, true,
-                                                           false)), (String
-                                                           ((Ascii (false,
-                                                           false, true,
-                                                           false, false,
-                                                           false, true,
-                                                           false)), (String
-                                                           ((Ascii (false,
-                                                           true, true, false,
-                                                           false, false,
-                                                           true, false)),
-                                                           (String ((Ascii
-                                                           (true, false,
-                                                           false, true,
-                                                           false, false,
-                                                           true, false)),
-                                                           (String ((Ascii
-                                                           (true, false,
-                                                           false, true,
-                                                           false, false,
-                                                           true, false)),
-                                                           (String ((Ascii
-                                                           (false, false,
-                                                           true, false,
-                                                           false, true, true,
-                                                           false)), (String
-                                                           ((Ascii (true,
-                                                           false, true,
-                                                           false, false,
-                                                           true, true,
-                                                           false)), (String
-                                                           ((Ascii (false,
-                                                           true, true, true,
-                                                           false, true, true,
-                                                           false)), (String
-                                                           ((Ascii (false,
-                                                           false, true,
-                                                           false, true, true,
-                                                           true, false)),
-                                                           (String ((Ascii
-                                                           (true, false,
-                                                           false, true,
-                                                           false, true, true,
-                                                           false)), (String
-                                                           ((Ascii (false,
-                                                           true, true, false,
-                                                           false, true, true,
-                                                           false)), (String
-                                                           ((Ascii (true,
-                                                           false, false,
-                                                           true, false, true,
-                                                           true, false)),
-                                                           (String ((Ascii
-                                                           (true, true,
-                                                           false, false,
-                                                           false, true, true,
-                                                           false)), (String
-                                                           ((Ascii (true,
-                                                           false, false,
-                                                           false, false,
-                                                           true, true,
-                                                           false)), (String
-                                                           ((Ascii (false,
-                                                           false, true,
-                                                           false, true, true,
-                                                           true, false)),
-                                                           (String ((Ascii
-                                                           (true, false,
-                                                           false, true,
-                                                           false, true, true,
-                                                           false)), (String
-                                                           ((Ascii (true,
-                                                           true, true, true,
-                                                           false, true, true,
-                                                           false)), (String
-                                                           ((Ascii (false,
-                                                           true, true, true,
-                                                           false, true, true,
-                                                           false)),
-                                                           EmptyString))))))))))))))))))))))))))))))))))))
-                                                           ((String ((Ascii
-                                                           (false, false,
-                                                           false, false,
-                                                           true, true, true,
-                                                           false)), (String
-                                                           ((Ascii (true,
-                                                           false, false,
-                                                           false, false,
-                                                           true, true,
-                                                           false)), (String
-                                                           ((Ascii (false,
-                                                           true, false,
-                                                           false, true, true,
-                                                           true, false)),
-                                                           (String ((Ascii
-                                                           (true, true,
-                                                           false, false,
-                                                           true, true, true,
-                                                           false)), (String
-                                                           ((Ascii (true,
-                                                           false, true,
-                                                           false, false,
-                                                           true, true,
-                                                           false)), (String
-                                                           ((Ascii (true,
-                                                           true, false,
-                                                           false, true,
-                                                           false, true,
-                                                           false)), (String
-                                                           ((Ascii (false,
-                                                           false, true,
-                                                           false, true, true,
-                                                           true, false)),
-                                                           (String ((Ascii
-                                                           (false, true,
-                                                           false, false,
-                                                           true, true, true,
-                                                           false)), (String
-                                                           ((Ascii (true,
-                                                           false, false,
-                                                           true, false, true,
-                                                           true, false)),
-                                                           (String ((Ascii
-                                                           (false, true,
-                                                           true, true, false,
-                                                           true, true,
-                                                           false)), (String
-                                                           ((Ascii (true,
-                                                           true, true, false,
-                                                           false, true, true,
-                                                           false)), (String
-                                                           ((Ascii (false,
-                                                           true, true, false,
-                                                           false, false,
-                                                           true, false)),
-                                                           (String ((Ascii
-                                                           (true, false,
-                                                           false, true,
-                                                           false, true, true,
-                                                           false)), (String
-                                                           ((Ascii (true,
-                                                           false, true,
-                                                           false, false,
-                                                           true, true,
-                                                           false)), (String
-                                                           ((Ascii (false,
-                                                           false, true, true,
-                                                           false, true, true,
-                                                           false)), (String
-                                                           ((Ascii (false,
-                                                           false, true,
-                                                           false, false,
-                                                           true, true,
-                                                           false)),
-                                                           EmptyString)))))))))))))))))))))))))))))))) :: [])) :: (
-    (mkcut (S (S (S (S (S (S (S (S (S (S (S O))))))))))) (S (S (S (S (S (S (S
-      (S (S (S (S (S O)))))))))))) (String ((Ascii (true, true, false, false,
-      false, false, true, false)), (String ((Ascii (false, false, false,
-      true, false, true, true, false)), (String ((Ascii (true, false, true,
-      false, false, true, true, false)), (String ((Ascii (true, true, false,
-      false, false, true, true, false)), (String ((Ascii (true, true, false,
-      true, false, true, true, false)), (String ((Ascii (false, false, true,
-      false, false, false, true, false)), (String ((Ascii (true, false,
-      false, true, false, true, true, false)), (String ((Ascii (true, true,
-      true, false, false, true, true, false)), (String ((Ascii (true, false,
-      false, true, false, true, true, false)), (String ((Ascii (false, false,
-      true, false, true, true, true, false)), EmptyString))))))))))))))))))))
-      ((String ((Ascii (false, false, false, false, true, true, true,
-      false)), (String ((Ascii (true, false, false, false, false, true, true,
-      false)), (String ((Ascii (false, true, false, false, true, true, true,
-      false)), (String ((Ascii (true, true, false, false, true, true, true,
-      false)), (String ((Ascii (true, false, true, false, false, true, true,
-      false)), (String ((Ascii (true, true, false, false, true, false, true,
-      false)), (String ((Ascii (false, false, true, false, true, true, true,
-      false)), (String ((Ascii (false, true, false, false, true, true, true,
-      false)), (String ((Ascii (true, false, false, true, false, true, true,
-      false)), (String ((Ascii (false, true, true, true, false, true, true,
-      false)), (String ((Ascii (true, true, true, false, false, true, true,
-      false)), (String ((Ascii (false, true, true, false, false, false, true,
-      false)), (String ((Ascii (true, false, false, true, false, true, true,
-      false)), (String ((Ascii (true, false, true, false, false, true, true,
-      false)), (String ((Ascii (false, false, true, true, false, true, true,
-      false)), (String ((Ascii (false, false, true, false, false, true, true,
-      false)), EmptyString)))))))))))))))))))))))))))))))) :: [])) :: (
-    (mkcut (S (S (S (S (S (S (S (S (S (S (S (S O)))))))))))) (S (S (S (S (S
-      (S (S (S (S (S (S (S (S (S (S (S (S (S (S (S (S (S (S (S (S (S (S
-      O))))))))))))))))))))))))))) (String ((Ascii (false, false, true,
-      false, false, false, true, false)), (String ((Ascii (false, true, true,
-      false, false, false, true, false)), (String ((Ascii (true, false,
-      false, true, false, false, true, false)), (String ((Ascii (true, false,
-      false, false, false, false, true, false)), (String ((Ascii (true, true,
-      false, false, false, true, true, false)), (String ((Ascii (true, true,
-      false, false, false, true, true, false)), (String ((Ascii (true, true,
-      true, true, false, true, true, false)), (String ((Ascii (true, false,
-      true, false, true, true, true, false)), (String ((Ascii (false, true,
-      true, true, false, true, true, false)), (String ((Ascii (false, false,
-      true, false, true, true, true, false)), (String ((Ascii (false, true,
-      true, true, false, false, true, false)), (String ((Ascii (true, false,
-      true, false, true, true, true, false)), (String ((Ascii (true, false,
-      true, true, false, true, true, false)), (String ((Ascii (false, true,
-      false, false, false, true, true, false)), (String ((Ascii (true, false,
-      true, false, false, true, true, false)), (String ((Ascii (false, true,
-      false, false, true, true, true, false)),
-      EmptyString)))))))))))))))))))))))))))))))) []) :: ((mkcut (S (S (S (S
-                                                            (S (S (S (S (S (S
-                                                            (S (S (S (S (S (S
-                                                            (S (S (S (S (S (S
-                                                            (S (S (S (S (S
-                                                            O)))))))))))))))))))))))))))
-                                                            (S (S (S (S (S (S
-                                                            (S (S (S (S (S (S
-                                                            (S (S (S (S (S (S
-                                                            (S (S (S (S (S (S
-                                                            (S (S (S (S (S (S
-                                                            (S (S (S (S (S (S
-                                                            (S (S (S
-                                                            O)))))))))))))))))))))))))))))))))))))))
-                                                            (String ((Ascii
-                                                            (true, false,
-                                                            false, false,
-                                                            false, false,
-                                                            true, false)),
-                                                            (String ((Ascii
-                                                            (true, false,
-                                                            true, true,
-                                                            false, true,
-                                                            true, false)),
-                                                            (String ((Ascii
-                                                            (true, true,
-                                                            true, true,
-                                                            false, true,
-                                                            true, false)),
-                                                            (String ((Ascii
-                                                            (true, false,
-                                                            true, false,
-                                                            true, true, true,
-                                                            false)), (String
-                                                            ((Ascii (false,
-                                                            true, true, true,
-                                                            false, true,
-                                                            true, false)),
-                                                            (String ((Ascii
-                                                            (false, false,
-                                                            true, false,
-                                                            true, true, true,
-                                                            false)),
-                                                            EmptyString))))))))))))
-                                                            ((String ((Ascii
-                                                            (false, false,
-                                                            false, false,
-                                                            true, true, true,
-                                                            false)), (String
-                                                            ((Ascii (true,
-                                                            false, false,
-                                                            false, false,
-                                                            true, true,
-                                                            false)), (String
-                                                            ((Ascii (false,
-                                                            true, false,
-                                                            false, true,
-                                                            true, true,
-                                                            false)), (String
-                                                            ((Ascii (true,
-                                                            true, false,
-                                                            false, true,
-                                                            true, true,
-                                                            false)), (String
-                                                            ((Ascii (true,
-                                                            false, true,
-                                                            false, false,
-                                                            true, true,
-                                                            false)), (String
-                                                            ((Ascii (false,
-                                                            true, true, true,
-                                                            false, false,
-                                                            true, false)),
-                                                            (String ((Ascii
-                                                            (true, false,
-                                                            true, false,
-                                                            true, true, true,
-                                                            false)), (String
-                                                            ((Ascii (true,
-                                                            false, true,
-                                                            true, false,
-                                                            true, true,
-                                                            false)), (String
-                                                            ((Ascii (false,
-                                                            true, true,
-                                                            false, false,
-                                                            false, true,
-                                                            false)), (String
-                                                            ((Ascii (true,
-                                                            false, false,
-                                                            true, false,
-                                                            true, true,
-                                                            false)), (String
-                                                            ((Ascii (true,
-                                                            false, true,
-                                                            false, false,
-                                                            true, true,
-                                                            false)), (String
-                                                            ((Ascii (false,
-                                                            false, true,
-                                                            true, false,
-                                                            true, true,
-                                                            false)), (String
-                                                            ((Ascii (false,
-                                                            false, true,
-                                                            false, false,
-                                                            true, true,
-                                                            false)),
-                                                            EmptyString)))))))))))))))))))))))))) :: [])) :: (
-    (mkcut (S (S (S (S (S (S (S (S (S (S (S (S (S (S (S (S (S (S (S (S (S (S
-      (S (S (S (S (S (S (S (S (S (S (S (S (S (S (S (S (S
-      O))))))))))))))))))))))))))))))))))))))) (S (S (S (S (S (S (S (S (S (S
-      (S (S (S (S (S (S (S (S (S (S (S (S (S (S (S (S (S (S (S (S (S (S (S (S
-      (S (S (S (S (S (S (S (S (S (S (S (S (S (S
-      O)))))))))))))))))))))))))))))))))))))))))))))))) (String ((Ascii
-      (true, false, false, false, false, false, true, false)), (String
-      ((Ascii (false, false, true, false, false, true, true, false)), (String
-      ((Ascii (false, true, true, false, true, true, true, false)), (String
-      ((Ascii (true, false, false, true, false, true, true, false)), (String
-      ((Ascii (true, true, false, false, false, true, true, false)), (String
-      ((Ascii (true, false, true, false, false, true, true, false)), (String
-      ((Ascii (false, true, false, false, true, false, true, false)), (String
-      ((Ascii (true, true, true, true, false, true, true, false)), (String
-      ((Ascii (true, false, true, false, true, true, true, false)), (String
-      ((Ascii (false, false, true, false, true, true, true, false)), (String
-      ((Ascii (true, false, false, true, false, true, true, false)), (String
-      ((Ascii (false, true, true, true, false, true, true, false)), (String
-      ((Ascii (true, true, true, false, false, true, true, false)), (String
-      ((Ascii (false, true, true, true, false, false, true, false)), (String
-      ((Ascii (true, false, true, false, true, true, true, false)), (String
-      ((Ascii (true, false, true, true, false, true, true, false)), (String
-      ((Ascii (false, true, false, false, false, true, true, false)), (String
-      ((Ascii (true, false, true, false, false, true, true, false)), (String
-      ((Ascii (false, true, false, false, true, true, true, false)),
-      EmptyString)))))))))))))))))))))))))))))))))))))) ((String ((Ascii
-      (false, false, false, false, true, true, true, false)), (String ((Ascii
-      (true, false, false, false, false, true, true, false)), (String ((Ascii
-      (false, true, false, false, true, true, true, false)), (String ((Ascii
-      (true, true, false, false, true, true, true, false)), (String ((Ascii
-      (true, false, true, false, false, true, true, false)), (String ((Ascii
-      (true, true, false, false, true, false, true, false)), (String ((Ascii
-      (false, false, true, false, true, true, true, false)), (String ((Ascii
-      (false, true, false, false, true, true, true, false)), (String ((Ascii
-      (true, false, false, true, false, true, true, false)), (String ((Ascii
-      (false, true, true, true, false, true, true, false)), (String ((Ascii
-      (true, true, true, false, false, true, true, false)), (String ((Ascii
-      (false, true, true, false, false, false, true, false)), (String ((Ascii
-      (true, false, false, true, false, true, true, false)), (String ((Ascii
-      (true, false, true, false, false, true, true, false)), (String ((Ascii
-      (false, false, true, true, false, true, true, false)), (String ((Ascii
-      (false, false, true, false, false, true, true, false)),
-      EmptyString)))))))))))))))))))))))))))))))) :: [])) :: ((mkcut (S (S (S
-                                                                (S (S (S (S
-                                                                (S (S (S (S
-                                                                (S (S (S (S
-                                                                (S (S (S (S
-                                                                (S (S (S (S
-                                                                (S (S (S (S
-                                                                (S (S (S (S
-                                                                (S (S (S (S
-                                                                (S (S (S (S
-                                                                (S (S (S (S
-                                                                (S (S (S (S
-                                                                (S
-                                                                O))))))))))))))))))))))))))))))))))))))))))))))))
-                                                                (S (S (S (S
-                                                                (S (S (S (S
-                                                                (S (S (S (S
-                                                                (S (S (S (S
-                                                                (S (S (S (S
-                                                                (S (S (S (S
-                                                                (S (S (S (S
-                                                                (S (S (S (S
-                                                                (S (S (S (S
-                                                                (S (S (S (S
-                                                                (S (S (S (S
-                                                                (S (S (S (S
-                                                                (S (S (S (S
-                                                                (S
-                                                                O)))))))))))))))))))))))))))))))))))))))))))))))))))))
-                                                                (String
-                                                                ((Ascii
-                                                                (false, true,
-                                                                true, false,
-                                                                false, false,
-                                                                true,
-                                                                false)),
-                                                                (String
-                                                                ((Ascii
-                                                                (true, false,
-                                                                false, true,
-                                                                false, true,
-                                                                true,
-                                                                false)),
-                                                                (String
-                                                                ((Ascii
-                                                                (false,
-                                                                false, true,
-                                                                true, false,
-                                                                true, true,
-                                                                false)),
-                                                                (String
-                                                                ((Ascii
-                                                                (true, false,
-                                                                true, false,
-                                                                false, true,
-                                                                true,
-                                                                false)),
-                                                                (String
-                                                                ((Ascii
-                                                                (true, false,
-                                                                false, true,
-                                                                false, false,
-                                                                true,
-                                                                false)),
-                                                                (String
-                                                                ((Ascii
-                                                                (false,
-                                                                false, true,
-                                                                false, false,
-                                                                true, true,
-                                                                false)),
-                                                                (String
-                                                                ((Ascii
-                                                                (true, false,
-                                                                true, false,
-                                                                false, true,
-                                                                true,
-                                                                false)),
-                                                                (String
-                                                                ((Ascii
-                                                                (false, true,
-                                                                true, true,
-                                                                false, true,
-                                                                true,
-                                                                false)),
-                                                                (String
-                                                                ((Ascii
-                                                                (false,
-                                                                false, true,
-                                                                false, true,
-                                                                true, true,
-                                                                false)),
-                                                                (String
-                                                                ((Ascii
-                                                                (true, false,
-                                                                false, true,
-                                                                false, true,
-                                                                true,
-                                                                false)),
-                                                                (String
-                                                                ((Ascii
-                                                                (false, true,
-                                                                true, false,
-                                                                false, true,
-                                                                true,
-                                                                false)),
-                                                                (String
-                                                                ((Ascii
-                                                                (true, false,
-                                                                false, true,
-                                                                false, true,
-                                                                true,
-                                                                false)),
-                                                                (String
-                                                                ((Ascii
-                                                                (true, true,
-                                                                false, false,
-                                                                false, true,
-                                                                true,
-                                                                false)),
-                                                                (String
-                                                                ((Ascii
-                                                                (true, false,
-                                                                false, false,
-                                                                false, true,
-                                                                true,
-                                                                false)),
-                                                                (String
-                                                                ((Ascii
-                                                                (false,
-                                                                false, true,
-                                                                false, true,
-                                                                true, true,
-                                                                false)),
-                                                                (String
-                                                                ((Ascii
-                                                                (true, false,
-                                                                false, true,
-                                                                false, true,
-                                                                true,
-                                                                false)),
-                                                                (String
-                                                                ((Ascii
-                                                                (true, true,
-                                                                true, true,
-                                                                false, true,
-                                                                true,
-                                                                false)),
-                                                                (String
-                                                                ((Ascii
-                                                                (false, true,
-                                                                true, true,
-                                                                false, true,
-                                                                true,
-                                                                false)),
-                                                                EmptyString))))))))))))))))))))))))))))))))))))
-                                                                ((String
-                                                                ((Ascii
-                                                                (false,
-                                                                false, false,
-                                                                false, true,
-                                                                true, true,
-                                                                false)),
-                                                                (String
-                                                                ((Ascii
-                                                                (true, false,
-                                                                false, false,
-                                                                false, true,
-                                                                true,
-                                                                false)),
-                                                                (String
-                                                                ((Ascii
-                                                                (false, true,
-                                                                false, false,
-                                                                true, true,
-                                                                true,
-                                                                false)),
-                                                                (String
-                                                                ((Ascii
-                                                                (true, true,
-                                                                false, false,
-                                                                true, true,
-                                                                true,
-                                                                false)),
-                                                                (String
-                                                                ((Ascii
-                                                                (true, false,
-                                                                true, false,
-                                                                false, true,
-                                                                true,
-                                                                false)),
-                                                                (String
-                                                                ((Ascii
-                                                                (true, true,
-                                                                false, false,
-                                                                true, false,
-                                                                true,
-                                                                false)),
-                                                                (String
-                                                                ((Ascii
-                                                                (false,
-                                                                false, true,
-                                                                false, true,
-                                                                true, true,
-                                                                false)),
-                                                                (String
-                                                                ((Ascii
-                                                                (false, true,
-                                                                false, false,
-                                                                true, true,
-                                                                true,
-                                                                false)),
-                                                                (String
-                                                                ((Ascii
-                                                                (true, false,
-                                                                false, true,
-                                                                false, true,
-                                                                true,
-                                                                false)),
-                                                                (String
-                                                                ((Ascii
-                                                                (false, true,
-                                                                true, true,
-                                                                false, true,
-                                                                true,
-                                                                false)),
-                                                                (String
-                                                                ((Ascii
-                                                                (true, true,
-                                                                true, false,
-                                                                false, true,
-                                                                true,
-                                                                false)),
-                                                                (String
-                                                                ((Ascii
-                                                                (false, true,
-                                                                true, false,
-                                                                false, false,
-                                                                true,
-                                                                false)),
-                                                                (String
-                                                                ((Ascii
-                                                                (true, false,
-                                                                false, true,
-                                                                false, true,
-                                                                true,
-                                                                false)),
-                                                                (String
-                                                                ((Ascii
-                                                                (true, false,
-                                                                true, false,
-                                                                false, true,
-                                                                true,
-                                                                false)),
-                                                                (String
-                                                                ((Ascii
-                                                                (false,
-                                                                false, true,
-                                                                true, false,
-                                                                true, true,
-                                                                false)),
-                                                                (String
-                                                                ((Ascii
-                                                                (false,
-                                                                false, true,
-                                                                false, false,
-                                                                true, true,
-                                                                false)),
-                                                                EmptyString)))))))))))))))))))))))))))))))) :: [])) :: (
-    (mkcut (S (S (S (S (S (S (S (S (S (S (S (S (S (S (S (S (S (S (S (S (S (S
-      (S (S (S (S (S (S (S (S (S (S (S (S (S (S (S (S (S (S (S (S (S (S (S (S
-      (S (S (S (S (S (S (S
-      O))))))))))))))))))))))))))))))))))))))))))))))))))))) (S (S (S (S (S
-      (S (S (S (S (S (S (S (S (S (S (S (S (S (S (S (S (S (S (S (S (S (S (S (S
-      (S (S (S (S (S (S (S (S (S (S (S (S (S (S (S (S (S (S (S (S (S (S (S (S
-      (S O)))))))))))))))))))))))))))))))))))))))))))))))))))))) (String
-      ((Ascii (true, false, false, false, false, false, true, false)),
-      (String ((Ascii (true, true, false, false, false, false, true, false)),
-      (String ((Ascii (false, false, false, true, false, false, true,
-      false)), (String ((Ascii (true, true, true, true, false, false, true,
-      false)), (String ((Ascii (false, false, false, false, true, true, true,
-      false)), (String ((Ascii (true, false, true, false, false, true, true,
-      false)), (String ((Ascii (false, true, false, false, true, true, true,
-      false)), (String ((Ascii (true, false, false, false, false, true, true,
-      false)), (String ((Ascii (false, false, true, false, true, true, true,
-      false)), (String ((Ascii (true, true, true, true, false, true, true,
-      false)), (String ((Ascii (false, true, false, false, true, true, true,
-      false)), (String ((Ascii (false, false, true, false, false, false,
-      true, false)), (String ((Ascii (true, false, false, false, false, true,
-      true, false)), (String ((Ascii (false, false, true, false, true, true,
-      true, false)), (String ((Ascii (true, false, false, false, false, true,
-      true, false)), EmptyString)))))))))))))))))))))))))))))) ((String
-      ((Ascii (false, false, false, false, true, true, true, false)), (String
-      ((Ascii (true, false, false, false, false, true, true, false)), (String
-      ((Ascii (false, true, false, false, true, true, true, false)), (String
-      ((Ascii (true, true, false, false, true, true, true, false)), (String
-      ((Ascii (true, false, true, false, false, true, true, false)), (String
-      ((Ascii (true, true, false, false, true, false, true, false)), (String
-      ((Ascii (false, false, true, false, true, true, true, false)), (String
-      ((Ascii (false, true, false, false, true, true, true, false)), (String
-      ((Ascii (true, false, false, true, false, true, true, false)), (String
-      ((Ascii (false, true, true, true, false, true, true, false)), (String
-      ((Ascii (true, true, true, false, false, true, true, false)), (String
-      ((Ascii (false, true, true, false, false, false, true, false)), (String
-      ((Ascii (true, false, false, true, false, true, true, false)), (String
-      ((Ascii (true, false, true, false, false, true, true, false)), (String
-      ((Ascii (false, false, true, true, false, true, true, false)), (String
-      ((Ascii (false, false, true, false, false, true, true, false)),
-      EmptyString)))))))))))))))))))))))))))))))) :: [])) :: ((mkcut (S (S (S
-                                                                (S (S (S (S
-                                                                (S (S (S (S
-                                                                (S (S (S (S
-                                                                (S (S (S (S
-                                                                (S (S (S (S
-                                                                (S (S (S (S
-                                                                (S (S (S (S
-                                                                (S (S (S (S
-                                                                (S (S (S (S
-                                                                (S (S (S (S
-                                                                (S (S (S (S
-                                                                (S (S (S (S
-                                                                (S (S (S
-                                                                O))))))))))))))))))))))))))))))))))))))))))))))))))))))
-                                                                (S (S (S (S
-                                                                (S (S (S (S
-                                                                (S (S (S (S
-                                                                (S (S (S (S
-                                                                (S (S (S (S
-                                                                (S (S (S (S
-                                                                (S (S (S (S
-                                                                (S (S (S (S
-                                                                (S (S (S (S
-                                                                (S (S (S (S
-                                                                (S (S (S (S
-                                                                (S (S (S (S
-                                                                (S (S (S (S
-                                                                (S (S (S (S
-                                                                (S (S (S (S
-                                                                (S (S (S (S
-                                                                (S (S (S (S
-                                                                (S (S (S (S
-                                                                (S (S (S (S
-                                                                O))))))))))))))))))))))))))))))))))))))))))))))))))))))))))))))))))))))))))))
-                                                                (String
-                                                                ((Ascii
-                                                                (true, false,
-                                                                false, true,
-                                                                false, false,
-                                                                true,
-                                                                false)),
-                                                                (String
-                                                                ((Ascii
-                                                                (false, true,
-                                                                true, true,
-                                                                false, true,
-                                                                true,
-                                                                false)),
-                                                                (String
-                                                                ((Ascii
-                                                                (false,
-                                                                false, true,
-                                                                false, false,
-                                                                true, true,
-                                                                false)),
-                                                                (String
-                                                                ((Ascii
-                                                                (true, false,
-                                                                false, true,
-                                                                false, true,
-                                                                true,
-                                                                false)),
-                                                                (String
-                                                                ((Ascii
-                                                                (false, true,
-                                                                true, false,
-                                                                true, true,
-                                                                true,
-                                                                false)),
-                                                                (String
-                                                                ((Ascii
-                                                                (true, false,
-                                                                false, true,
-                                                                false, true,
-                                                                true,
-                                                                false)),
-                                                                (String
-                                                                ((Ascii
-                                                                (false,
-                                                                false, true,
-                                                                false, false,
-                                                                true, true,
-                                                                false)),
-                                                                (String
-                                                                ((Ascii
-                                                                (true, false,
-                                                                true, false,
-                                                                true, true,
-                                                                true,
-                                                                false)),
-                                                                (String
-                                                                ((Ascii
-                                                                (true, false,
-                                                                false, false,
-                                                                false, true,
-                                                                true,
-                                                                false)),
-                                                                (String
-                                                                ((Ascii
-                                                                (false,
-                                                                false, true,
-                                                                true, false,
-                                                                true, true,
-                                                                false)),
-                                                                (String
-                                                                ((Ascii
-                                                                (false, true,
-                                                                true, true,
-                                                                false, false,
-                                                                true,
-                                                                false)),
-                                                                (String
-                                                                ((Ascii
-                                                                (true, false,
-                                                                false, false,
-                                                                false, true,
-                                                                true,
-                                                                false)),
-                                                                (String
-                                                                ((Ascii
-                                                                (true, false,
-                                                                true, true,
-                                                                false, true,
-                                                                true,
-                                                                false)),
-                                                                (String
-                                                                ((Ascii
-                                                                (true, false,
-                                                                true, false,
-                                                                false, true,
-                                                                true,
-                                                                false)),
-                                                                EmptyString))))))))))))))))))))))))))))
-                                                                []) :: (
-    (mkcut (S (S (S (S (S (S (S (S (S (S (S (S (S (S (S (S (S (S (S (S (S (S
-      (S (S (S (S (S (S (S (S (S (S (S (S (S (S (S (S (S (S (S (S (S (S (S (S
-      (S (S (S (S (S (S (S (S (S (S (S (S (S (S (S (S (S (S (S (S (S (S (S (S
-      (S (S (S (S (S (S
-      O))))))))))))))))))))))))))))))))))))))))))))))))))))))))))))))))))))))))))))
-      (S (S (S (S (S (S (S (S (S (S (S (S (S (S (S (S (S (S (S (S (S (S (S (S
-      (S (S (S (S (S (S (S (S (S (S (S (S (S (S (S (S (S (S (S (S (S (S (S (S
-      (S (S (S (S (S (S (S (S (S (S (S (S (S (S (S (S (S (S (S (S (S (S (S (S
-      (S (S (S (S (S (S
-      O))))))))))))))))))))))))))))))))))))))))))))))))))))))))))))))))))))))))))))))
-      (String ((Ascii (false, false, true, false, false, false, true,
-      false)), (String ((Ascii (true, false, false, true, false, true, true,
-      false)), (String ((Ascii (true, true, false, false, true, true, true,
-      false)), (String ((Ascii (true, true, false, false, false, true, true,
-      false)), (String ((Ascii (false, true, false, false, true, true, true,
-      false)), (String ((Ascii (true, false, true, false, false, true, true,
-      false)), (String ((Ascii (false, false, true, false, true, true, true,
-      false)), (String ((Ascii (true, false, false, true, false, true, true,
-      false)), (String ((Ascii (true, true, true, true, false, true, true,
-      false)), (String ((Ascii (false, true, true, true, false, true, true,
-      false)), (String ((Ascii (true, false, false, false, false, true, true,
-      false)), (String ((Ascii (false, true, false, false, true, true, true,
-      false)), (String ((Ascii (true, false, false, true, true, true, true,
-      false)), (String ((Ascii (false, false, true, false, false, false,
-      true, false)), (String ((Ascii (true, false, false, false, false, true,
-      true, false)), (String ((Ascii (false, false, true, false, true, true,
-      true, false)), (String ((Ascii (true, false, false, false, false, true,
-      true, false)), EmptyString)))))))))))))))))))))))))))))))))) []) :: (
-    (mkcut (S (S (S (S (S (S (S (S (S (S (S (S (S (S (S (S (S (S (S (S (S (S
-      (S (S (S (S (S (S (S (S (S (S (S (S (S (S (S (S (S (S (S (S (S (S (S (S
-      (S (S (S (S (S (S (S (S (S (S (S (S (S (S (S (S (S (S (S (S (S (S (S (S
-      (S (S (S (S (S (S (S (S
-      O))))))))))))))))))))))))))))))))))))))))))))))))))))))))))))))))))))))))))))))
-      (S (S (S (S (S (S (S (S (S (S (S (S (S (S (S (S (S (S (S (S (S (S (S (S
-      (S (S (S (S (S (S (S (S (S (S (S (S (S (S (S (S (S (S (S (S (S (S (S (S
-      (S (S (S (S (S (S (S (S (S (S (S (S (S (S (S (S (S (S (S (S (S (S (S (S
-      (S (S (S (S (S (S (S
-      O)))))))))))))))))))))))))))))))))))))))))))))))))))))))))))))))))))))))))))))))
-      (String ((Ascii (true, false, false, false, false, false, true,
-      false)), (String ((Ascii (false, false, true, false, false, true, true,
-      false)), (String ((Ascii (false, false, true, false, false, true, true,
-      false)), (String ((Ascii (true, false, true, false, false, true, true,
-      false)), (String ((Ascii (false, true, true, true, false, true, true,
-      false)), (String ((Ascii (false, false, true, false, false, true, true,
-      false)), (String ((Ascii (true, false, false, false, false, true, true,
-      false)), (String ((Ascii (false, true, false, false, true, false, true,
-      false)), (String ((Ascii (true, false, true, false, false, true, true,
-      false)), (String ((Ascii (true, true, false, false, false, true, true,
-      false)), (String ((Ascii (true, true, true, true, false, true, true,
-      false)), (String ((Ascii (false, true, false, false, true, true, true,
-      false)), (String ((Ascii (false, false, true, false, false, true, true,
-      false)), (String ((Ascii (true, false, false, true, false, false, true,
-      false)), (String ((Ascii (false, true, true, true, false, true, true,
-      false)), (String ((Ascii (false, false, true, false, false, true, true,
-      false)), (String ((Ascii (true, false, false, true, false, true, true,
-      false)), (String ((Ascii (true, true, false, false, false, true, true,
-      false)), (String ((Ascii (true, false, false, false, false, true, true,
-      false)), (String ((Ascii (false, false, true, false, true, true, true,
-      false)), (String ((Ascii (true, true, true, true, false, true, true,
-      false)), (String ((Ascii (false, true, false, false, true, true, true,
-      false)), EmptyString))))))))))))))))))))))))))))))))))))))))))))
-      ((String ((Ascii (false, false, false, false, true, true, true,
-      false)), (String ((Ascii (true, false, false, false, false, true, true,
-      false)), (String ((Ascii (false, true, false, false, true, true, true,
-      false)), (String ((Ascii (true, true, false, false, true, true, true,
-      false)), (String ((Ascii (true, false, true, false, false, true, true,
-      false)), (String ((Ascii (false, true, true, true, false, false, true,
-      false)), (String ((Ascii (true, false, true, false, true, true, true,
-      false)), (String ((Ascii (true, false, true, true, false, true, true,
-      false)), (String ((Ascii (false, true, true, false, false, false, true,
-      false)), (String ((Ascii (true, false, false, true, false, true, true,
-      false)), (String ((Ascii (true, false, true, false, false, true, true,
-      false)), (String ((Ascii (false, false, true, true, false, true, true,
-      false)), (String ((Ascii (false, false, true, false, false, true, true,
-      false)), EmptyString)))))))))))))))))))))))))) :: [])) :: ((mkcut (S (S
-                                                                   (S (S (S
-                                                                   (S (S (S
-                                                                   (S (S (S
-                                                                   (S (S (S
-                                                                   (S (S (S
-                                                                   (S (S (S
-                                                                   (S (S (S
-                                                                   (S (S (S
-                                                                   (S (S (S
-                                                                   (S (S (S
-                                                                   (S (S (S
-                                                                   (S (S (S
-                                                                   (S (S (S
-                                                                   (S (S (S
-                                                                   (S (S (S
-                                                                   (S (S (S
-                                                                   (S (S (S
-                                                                   (S (S (S
-                                                                   (S (S (S
-                                                                   (S (S (S
-                                                                   (S (S (S
-                                                                   (S (S (S
-                                                                   (S (S (S
-                                                                   (S (S (S
-                                                                   (S (S (S
-                                                                   (S (S
-                                                                   O)))))))))))))))))))))))))))))))))))))))))))))))))))))))))))))))))))))))))))))))
-                                                                   (S (S (S
-                                                                   (S (S (S
-                                                                   (S (S (S
-                                                                   (S (S (S
-                                                                   (S (S (S
-                                                                   (S (S (S
-                                                                   (S (S (S
-                                                                   (S (S (S
-                                                                   (S (S (S
-                                                                   (S (S (S
-                                                                   (S (S (S
-                                                                   (S (S (S
-                                                                   (S (S (S
-                                                                   (S (S (S
-                                                                   (S (S (S
-                                                                   (S (S (S
-                                                                   (S (S (S
-                                                                   (S (S (S
-                                                                   (S (S (S
-                                                                   (S (S (S
-                                                                   (S (S (S
-                                                                   (S (S (S
-                                                                   (S (S (S
-                                                                   (S (S (S
-                                                                   (S (S (S
-                                                                   (S (S (S
-                                                                   (S (S (S
-                                                                   (S (S (S
-                                                                   (S (S (S
-                                                                   O)))))))))))))))))))))))))))))))))))))))))))))))))))))))))))))))))))))))))))))))))))))))
-                                                                   (String
-                                                                   ((Ascii
-                                                                   (true,
-                                                                   false,
-                                                                   false,
-                                                                   false,
-                                                                   false,
-                                                                   false,
-                                                                   true,
-                                                                   false)),
-                                                                   (String
-                                                                   ((Ascii
-                                                                   (true,
-                                                                   true,
-                                                                   false,
-                                                                   false,
-                                                                   false,
-                                                                   false,
-                                                                   true,
-                                                                   false)),
-                                                                   (String
-                                                                   ((Ascii
-                                                                   (false,
-                                                                   false,
-                                                                   false,
-                                                                   true,
-                                                                   false,
-                                                                   false,
-                                                                   true,
-                                                                   false)),
-                                                                   (String
-                                                                   ((Ascii
-                                                                   (true,
-                                                                   true,
-                                                                   true,
-                                                                   true,
-                                                                   false,
-                                                                   false,
-                                                                   true,
-                                                                   false)),
-                                                                   (String
-                                                                   ((Ascii
-                                                                   (false,
-                                                                   false,
-                                                                   false,
-                                                                   false,
-                                                                   true,
-                                                                   true,
-                                                                   true,
-                                                                   false)),
-                                                                   (String
-                                                                   ((Ascii
-                                                                   (true,
-                                                                   false,
-                                                                   true,
-                                                                   false,
-                                                                   false,
-                                                                   true,
-                                                                   true,
-                                                                   false)),
-                                                                   (String
-                                                                   ((Ascii
-                                                                   (false,
-                                                                   true,
-                                                                   false,
-                                                                   false,
-                                                                   true,
-                                                                   true,
-                                                                   true,
-                                                                   false)),
-                                                                   (String
-                                                                   ((Ascii
-                                                                   (true,
-                                                                   false,
-                                                                   false,
-                                                                   false,
-                                                                   false,
-                                                                   true,
-                                                                   true,
-                                                                   false)),
-                                                                   (String
-                                                                   ((Ascii
-                                                                   (false,
-                                                                   false,
-                                                                   true,
-                                                                   false,
-                                                                   true,
-                                                                   true,
-                                                                   true,
-                                                                   false)),
-                                                                   (String
-                                                                   ((Ascii
-                                                                   (true,
-                                                                   true,
-                                                                   true,
-                                                                   true,
-                                                                   false,
-                                                                   true,
-                                                                   true,
-                                                                   false)),
-                                                                   (String
-                                                                   ((Ascii
-                                                                   (false,
-                                                                   true,
-                                                                   false,
-                                                                   false,
-                                                                   true,
-                                                                   true,
-                                                                   true,
-                                                                   false)),
-                                                                   (String
-                                                                   ((Ascii
-                                                                   (false,
-                                                                   true,
-                                                                   false,
-                                                                   false,
-                                                                   true,
-                                                                   false,
-                                                                   true,
-                                                                   false)),
-                                                                   (String
-                                                                   ((Ascii
-                                                                   (true,
-                                                                   true,
-                                                                   true,
-                                                                   true,
-                                                                   false,
-                                                                   true,
-                                                                   true,
-                                                                   false)),
-                                                                   (String
-                                                                   ((Ascii
-                                                                   (true,
-                                                                   false,
-                                                                   true,
-                                                                   false,
-                                                                   true,
-                                                                   true,
-                                                                   true,
-                                                                   false)),
-                                                                   (String
-                                                                   ((Ascii
-                                                                   (false,
-                                                                   false,
-                                                                   true,
-                                                                   false,
-                                                                   true,
-                                                                   true,
-                                                                   true,
-                                                                   false)),
-                                                                   (String
-                                                                   ((Ascii
-                                                                   (true,
-                                                                   false,
-                                                                   false,
-                                                                   true,
-                                                                   false,
-                                                                   true,
-                                                                   true,
-                                                                   false)),
-                                                                   (String
-                                                                   ((Ascii
-                                                                   (false,
-                                                                   true,
-                                                                   true,
-                                                                   true,
-                                                                   false,
-                                                                   true,
-                                                                   true,
-                                                                   false)),
-                                                                   (String
-                                                                   ((Ascii
-                                                                   (true,
-                                                                   true,
-                                                                   true,
-                                                                   false,
-                                                                   false,
-                                                                   true,
-                                                                   true,
-                                                                   false)),
-                                                                   (String
-                                                                   ((Ascii
-                                                                   (false,
-                                                                   true,
-                                                                   true,
-                                                                   true,
-                                                                   false,
-                                                                   false,
-                                                                   true,
-                                                                   false)),
-                                                                   (String
-                                                                   ((Ascii
-                                                                   (true,
-                                                                   false,
-                                                                   true,
-                                                                   false,
-                                                                   true,
-                                                                   true,
-                                                                   true,
-                                                                   false)),
-                                                                   (String
-                                                                   ((Ascii
-                                                                   (true,
-                                                                   false,
-                                                                   true,
-                                                                   true,
-                                                                   false,
-                                                                   true,
-                                                                   true,
-                                                                   false)),
-                                                                   (String
-                                                                   ((Ascii
-                                                                   (false,
-                                                                   true,
-                                                                   false,
-                                                                   false,
-                                                                   false,
-                                                                   true,
-                                                                   true,
-                                                                   false)),
-                                                                   (String
-                                                                   ((Ascii
-                                                                   (true,
-                                                                   false,
-                                                                   true,
-                                                                   false,
-                                                                   false,
-                                                                   true,
-                                                                   true,
-                                                                   false)),
-                                                                   (String
-                                                                   ((Ascii
-                                                                   (false,
-                                                                   true,
-                                                                   false,
-                                                                   false,
-                                                                   true,
-                                                                   true,
-                                                                   true,
-                                                                   false)),
-                                                                   EmptyString))))))))))))))))))))))))))))))))))))))))))))))))
-                                                                   ((String
-                                                                   ((Ascii
-                                                                   (false,
-                                                                   false,
-                                                                   false,
-                                                                   false,
-                                                                   true,
-                                                                   true,
-                                                                   true,
-                                                                   false)),
-                                                                   (String
-                                                                   ((Ascii
-                                                                   (true,
-                                                                   false,
-                                                                   false,
-                                                                   false,
-                                                                   false,
-                                                                   true,
-                                                                   true,
-                                                                   false)),
-                                                                   (String
-                                                                   ((Ascii
-                                                                   (false,
-                                                                   true,
-                                                                   false,
-                                                                   false,
-                                                                   true,
-                                                                   true,
-                                                                   true,
-                                                                   false)),
-                                                                   (String
-                                                                   ((Ascii
-                                                                   (true,
-                                                                   true,
-                                                                   false,
-                                                                   false,
-                                                                   true,
-                                                                   true,
-                                                                   true,
-                                                                   false)),
-                                                                   (String
-                                                                   ((Ascii
-                                                                   (true,
-                                                                   false,
-                                                                   true,
-                                                                   false,
-                                                                   false,
-                                                                   true,
-                                                                   true,
-                                                                   false)),
-                                                                   (String
-                                                                   ((Ascii
-                                                                   (true,
-                                                                   true,
-                                                                   false,
-                                                                   false,
-                                                                   true,
-                                                                   false,
-                                                                   true,
-                                                                   false)),
-                                                                   (String
-                                                                   ((Ascii
-                                                                   (false,
-                                                                   false,
-                                                                   true,
-                                                                   false,
-                                                                   true,
-                                                                   true,
-                                                                   true,
-                                                                   false)),
-                                                                   (String
-                                                                   ((Ascii
-                                                                   (false,
-                                                                   true,
-                                                                   false,
-                                                                   false,
-                                                                   true,
-                                                                   true,
-                                                                   true,
-                                                                   false)),
-                                                                   (String
-                                                                   ((Ascii
-                                                                   (true,
-                                                                   false,
-                                                                   false,
-                                                                   true,
-                                                                   false,
-                                                                   true,
-                                                                   true,
-                                                                   false)),
-                                                                   (String
-                                                                   ((Ascii
-                                                                   (false,
-                                                                   true,
-                                                                   true,
-                                                                   true,
-                                                                   false,
-                                                                   true,
-                                                                   true,
-                                                                   false)),
-                                                                   (String
-                                                                   ((Ascii
-                                                                   (true,
-                                                                   true,
-                                                                   true,
-                                                                   false,
-                                                                   false,
-                                                                   true,
-                                                                   true,
-                                                                   false)),
-                                                                   (String
-                                                                   ((Ascii
-                                                                   (false,
-                                                                   true,
-                                                                   true,
-                                                                   false,
-                                                                   false,
-                                                                   false,
-                                                                   true,
-                                                                   false)),
-                                                                   (String
-                                                                   ((Ascii
-                                                                   (true,
-                                                                   false,
-                                                                   false,
-                                                                   true,
-                                                                   false,
-                                                                   true,
-                                                                   true,
-                                                                   false)),
-                                                                   (String
-                                                                   ((Ascii
-                                                                   (true,
-                                                                   false,
-                                                                   true,
-                                                                   false,
-                                                                   false,
-                                                                   true,
-                                                                   true,
-                                                                   false)),
-                                                                   (String
-                                                                   ((Ascii
-                                                                   (false,
-                                                                   false,
-                                                                   true,
-                                                                   true,
-                                                                   false,
-                                                                   true,
-                                                                   true,
-                                                                   false)),
-                                                                   (String
-                                                                   ((Ascii
-                                                                   (false,
-                                                                   false,
-                                                                   true,
-                                                                   false,
-                                                                   false,
-                                                                   true,
-                                                                   true,
-                                                                   false)),
-                                                                   EmptyString)))))))))))))))))))))))))))))))) :: [])) :: (
-    (mkcut (S (S (S (S (S (S (S (S (S (S (S (S (S (S (S (S (S (S (S (S (S (S
-      (S (S (S (S (S (S (S (S (S (S (S (S (S (S (S (S (S (S (S (S (S (S (S (S
-      (S (S (S (S (S (S (S (S (S (S (S (S (S (S (S (S (S (S (S (S (S (S (S (S
-      (S (S (S (S (S (S (S (S (S (S (S (S (S (S (S (S (S
-      O)))))))))))))))))))))))))))))))))))))))))))))))))))))))))))))))))))))))))))))))))))))))
-      (S (S (S (S (S (S (S (S (S (S (S (S (S (S (S (S (S (S (S (S (S (S (S (S
-      (S (S (S (S (S (S (S (S (S (S (S (S (S (S (S (S (S (S (S (S (S (S (S (S
-      (S (S (S (S (S (S (S (S (S (S (S (S (S (S (S (S (S (S (S (S (S (S (S (S
-      (S (S (S (S (S (S (S (S (S (S (S (S (S (S (S (S (S (S
-      O))))))))))))))))))))))))))))))))))))))))))))))))))))))))))))))))))))))))))))))))))))))))))
-      (String ((Ascii (false, true, false, true, false, false, true, false)),
-      (String ((Ascii (true, false, true, false, true, true, true, false)),
-      (String ((Ascii (false, false, true, true, false, true, true, false)),
-      (String ((Ascii (true, false, false, true, false, true, true, false)),
-      (String ((Ascii (true, false, false, false, false, true, true, false)),
-      (String ((Ascii (false, true, true, true, false, true, true, false)),
-      (String ((Ascii (false, false, true, false, false, false, true,
-      false)), (String ((Ascii (true, false, false, false, false, true, true,
-      false)), (String ((Ascii (true, false, false, true, true, true, true,
-      false)), EmptyString)))))))))))))))))) ((String ((Ascii (false, false,
-      false, false, true, true, true, false)), (String ((Ascii (true, false,
-      false, false, false, true, true, false)), (String ((Ascii (false, true,
-      false, false, true, true, true, false)), (String ((Ascii (true, true,
-      false, false, true, true, true, false)), (String ((Ascii (true, false,
-      true, false, false, true, true, false)), (String ((Ascii (false, true,
-      true, true, false, false, true, false)), (String ((Ascii (true, false,
-      true, false, true, true, true, false)), (String ((Ascii (true, false,
-      true, true, false, true, true, false)), (String ((Ascii (false, true,
-      true, false, false, false, true, false)), (String ((Ascii (true, false,
-      false, true, false, true, true, false)), (String ((Ascii (true, false,
-      true, false, false, true, true, false)), (String ((Ascii (false, false,
-      true, true, false, true, true, false)), (String ((Ascii (false, false,
-      true, false, false, true, true, false)),
-      EmptyString)))))))))))))))))))))))))) :: [])) :: ((mkcut (S (S (S (S (S
-                                                          (S (S (S (S (S (S
-                                                          (S (S (S (S (S (S
-                                                          (S (S (S (S (S (S
-                                                          (S (S (S (S (S (S
-                                                          (S (S (S (S (S (S
-                                                          (S (S (S (S (S (S
-                                                          (S (S (S (S (S (S
-                                                          (S (S (S (S (S (S
-                                                          (S (S (S (S (S (S
-                                                          (S (S (S (S (S (S
-                                                          (S (S (S (S (S (S
-                                                          (S (S (S (S (S (S
-                                                          (S (S (S (S (S (S
-                                                          (S (S (S (S (S (S
-                                                          (S
-                                                          O))))))))))))))))))))))))))))))))))))))))))))))))))))))))))))))))))))))))))))))))))))))))))
-                                                          (S (S (S (S (S (S
-                                                          (S (S (S (S (S (S
-                                                          (S (S (S (S (S (S
-                                                          (S (S (S (S (S (S
-                                                          (S (S (S (S (S (S
-                                                          (S (S (S (S (S (S
-                                                          (S (S (S (S (S (S
-                                                          (S (S (S (S (S (S
-                                                          (S (S (S (S (S (S
-                                                          (S (S (S (S (S (S
-                                                          (S (S (S (S (S (S
-                                                          (S (S (S (S (S (S
-                                                          (S (S (S (S (S (S
-                                                          (S (S (S (S (S (S
-                                                          (S (S (S (S (S (S
-                                                          (S (S (S (S
-                                                          O))))))))))))))))))))))))))))))))))))))))))))))))))))))))))))))))))))))))))))))))))))))))))))))
-                                                          (String ((Ascii
-                                                          (true, true, false,
-                                                          false, true, false,
-                                                          true, false)),
-                                                          (String ((Ascii
-                                                          (true, false, true,
-                                                          false, false, true,
-                                                          true, false)),
-                                                          (String ((Ascii
-                                                          (true, false,
-                                                          false, false, true,
-                                                          true, true,
-                                                          false)), (String
-                                                          ((Ascii (true,
-                                                          false, true, false,
-                                                          true, true, true,
-                                                          false)), (String
-                                                          ((Ascii (true,
-                                                          false, true, false,
-                                                          false, true, true,
-                                                          false)), (String
-                                                          ((Ascii (false,
-                                                          true, true, true,
-                                                          false, true, true,
-                                                          false)), (String
-                                                          ((Ascii (true,
-                                                          true, false, false,
-                                                          false, true, true,
-                                                          false)), (String
-                                                          ((Ascii (true,
-                                                          false, true, false,
-                                                          false, true, true,
-                                                          false)), (String
-                                                          ((Ascii (false,
-                                                          true, true, true,
-                                                          false, false, true,
-                                                          false)), (String
-                                                          ((Ascii (true,
-                                                          false, true, false,
-                                                          true, true, true,
-                                                          false)), (String
-                                                          ((Ascii (true,
-                                                          false, true, true,
-                                                          false, true, true,
-                                                          false)), (String
-                                                          ((Ascii (false,
-                                                          true, false, false,
-                                                          false, true, true,
-                                                          false)), (String
-                                                          ((Ascii (true,
-                                                          false, true, false,
-                                                          false, true, true,
-                                                          false)), (String
-                                                          ((Ascii (false,
-                                                          true, false, false,
-                                                          true, true, true,
-                                                          false)),
-                                                          EmptyString))))))))))))))))))))))))))))
-                                                          ((String ((Ascii
-                                                          (false, false,
-                                                          false, false, true,
-                                                          true, true,
-                                                          false)), (String
-                                                          ((Ascii (true,
-                                                          false, false,
-                                                          false, false, true,
-                                                          true, false)),
-                                                          (String ((Ascii
-                                                          (false, true,
-                                                          false, false, true,
-                                                          true, true,
-                                                          false)), (String
-                                                          ((Ascii (true,
-                                                          true, false, false,
-                                                          true, true, true,
-                                                          false)), (String
-                                                          ((Ascii (true,
-                                                          false, true, false,
-                                                          false, true, true,
-                                                          false)), (String
-                                                          ((Ascii (false,
-                                                          true, true, true,
-                                                          false, false, true,
-                                                          false)), (String
-                                                          ((Ascii (true,
-                                                          false, true, false,
-                                                          true, true, true,
-                                                          false)), (String
-                                                          ((Ascii (true,
-                                                          false, true, true,
-                                                          false, true, true,
-                                                          false)), (String
-                                                          ((Ascii (false,
-                                                          true, true, false,
-                                                          false, false, true,
-                                                          false)), (String
-                                                          ((Ascii (true,
-                                                          false, false, true,
-                                                          false, true, true,
-                                                          false)), (String
-                                                          ((Ascii (true,
-                                                          false, true, false,
-                                                          false, true, true,
-                                                          false)), (String
-                                                          ((Ascii (false,
-                                                          false, true, true,
-                                                          false, true, true,
-                                                          false)), (String
-                                                          ((Ascii (false,
-                                                          false, true, false,
-                                                          false, true, true,
-                                                          false)),
-                                                          EmptyString)))))))))))))))))))))))))) :: [])) :: [])))))))))))))) }
+let amount_std_arms =
+  { sa_codes = ((Zpos (XO (XI (XI (XO XH))))) :: ((Zpos (XI (XO (XI (XO
+    XH))))) :: ((Zpos (XI (XI (XI (XO XH))))) :: ((Zpos (XO (XO (XO (XI
+    XH))))) :: ((Zpos (XO (XO (XO (XO (XO XH)))))) :: ((Zpos (XI (XI (XI (XI
+    XH))))) :: ((Zpos (XI (XO (XO (XO (XO XH)))))) :: ((Zpos (XO (XI (XO (XO
+    (XO XH)))))) :: ((Zpos (XO (XI (XO (XI (XO XH)))))) :: ((Zpos (XI (XO (XO
+    (XI (XO XH)))))) :: ((Zpos (XI (XI (XO (XI (XO XH)))))) :: ((Zpos (XO (XO
+    (XI (XI (XO XH)))))) :: ((Zpos (XO (XO (XI (XO (XI XH)))))) :: ((Zpos (XI
+    (XI (XO (XO (XI XH)))))) :: ((Zpos (XI (XO (XI (XO (XI XH)))))) :: ((Zpos
+    (XO (XI (XI (XO (XI XH)))))) :: [])))))))))))))))); sa_target = TCredit;
+    sa_unknown = false } :: ({ sa_codes = ((Zpos (XI (XI (XO (XI
+    XH))))) :: ((Zpos (XO (XI (XO (XI XH))))) :: ((Zpos (XO (XO (XI (XI
+    XH))))) :: ((Zpos (XI (XO (XI (XI XH))))) :: ((Zpos (XI (XO (XI (XO (XO
+    XH)))))) :: ((Zpos (XO (XO (XI (XO (XO XH)))))) :: ((Zpos (XO (XI (XI (XO
+    (XO XH)))))) :: ((Zpos (XI (XI (XI (XO (XO XH)))))) :: ((Zpos (XI (XI (XI
+    (XI (XO XH)))))) :: ((Zpos (XO (XI (XI (XI (XO XH)))))) :: ((Zpos (XO (XO
+    (XO (XO (XI XH)))))) :: ((Zpos (XI (XO (XO (XO (XI XH)))))) :: ((Zpos (XI
+    (XI (XI (XO (XI XH)))))) :: ((Zpos (XO (XO (XO (XI (XI
+    XH)))))) :: [])))))))))))))); sa_target = TDebit; sa_unknown =
+    false } :: [])
 
-(** val l_ADVFileControl : layout **)
+(** val amount_iat_arms : seg_arm list **)
 
-let l_ADVFileControl =
-  { l_name = (String ((Ascii (true, false, false, false, false, false, true,
-    false)), (String ((Ascii (false, false, true, false, false, false, true,
-    false)), (String ((Ascii (false, true, true, false, true, false, true,
-    false)), (String ((Ascii (false, true, true, false, false, false, true,
-    false)), (String ((Ascii (true, false, false, true, false, true, true,
-    false)), (String ((Ascii (false, false, true, true, false, true, true,
-    false)), (String ((Ascii (true, false, true, false, false, true, true,
-    false)), (String ((Ascii (true, true, false, false, false, false, true,
-    false)), (String ((Ascii (true, true, true, true, false, true, true,
-    false)), (String ((Ascii (false, true, true, true, false, true, true,
-    false)), (String ((Ascii (false, false, true, false, true, true, true,
-    false)), (String ((Ascii (false, true, false, false, true, true, true,
-    false)), (String ((Ascii (true, true, true, true, false, true, true,
-    false)), (String ((Ascii (false, false, true, true, false, true, true,
-    false)), EmptyString)))))))))))))))))))))))))))); l_ix = IRune; l_segs =
-    ((SLit ((Npos (XI (XO (XO (XI (XI XH)))))) :: [])) :: ((SNum ((String
-    ((Ascii (false, true, false, false, false, false, true, false)), (String
-    ((Ascii (true, false, false, false, false, true, true, false)), (String
-    ((Ascii (false, false, true, false, true, true, true, false)), (String
-    ((Ascii (true, true, false, false, false, true, true, false)), (String
-    ((Ascii (false, false, false, true, false, true, true, false)), (String
-    ((Ascii (true, true, false, false, false, false, true, false)), (String
-    ((Ascii (true, true, true, true, false, true, true, false)), (String
-    ((Ascii (true, false, true, false, true, true, true, false)), (String
-    ((Ascii (false, true, true, true, false, true, true, false)), (String
-    ((Ascii (false, false, true, false, true, true, true, false)),
-    EmptyString)))))))))))))))))))), (S (S (S (S (S (S O)))))))) :: ((SNum
-    ((String ((Ascii (false, true, false, false, false, false, true, false)),
-    (String ((Ascii (false, false, true, true, false, true, true, false)),
-    (String ((Ascii (true, true, true, true, false, true, true, false)),
-    (String ((Ascii (true, true, false, false, false, true, true, false)),
-    (String ((Ascii (true, true, false, true, false, true, true, false)),
-    (String ((Ascii (true, true, false, false, false, false, true, false)),
-    (String ((Ascii (true, true, true, true, false, true, true, false)),
-    (String ((Ascii (true, false, true, false, true, true, true, false)),
-    (String ((Ascii (false, true, true, true, false, true, true, false)),
-    (String ((Ascii (false, false, true, false, true, true, true, false)),
-    EmptyString)))))))))))))))))))), (S (S (S (S (S (S O)))))))) :: ((SNum
-    ((String ((Ascii (true, false, true, false, false, false, true, false)),
-    (String ((Ascii (false, true, true, true, false, true, true, false)),
-    (String ((Ascii (false, false, true, false, true, true, true, false)),
-    (String ((Ascii (false, true, false, false, true, true, true, false)),
-    (String ((Ascii (true, false, false, true, true, true, true, false)),
-    (String ((Ascii (true, false, false, false, false, false, true, false)),
-    (String ((Ascii (false, false, true, false, false, true, true, false)),
-    (String ((Ascii (false, false, true, false, false, true, true, false)),
-    (String ((Ascii (true, false, true, false, false, true, true, false)),
-    (String ((Ascii (false, true, true, true, false, true, true, false)),
-    (String ((Ascii (false, false, true, false, false, true, true, false)),
-    (String ((Ascii (true, false, false, false, false, true, true, false)),
-    (String ((Ascii (true, true, false, false, false, false, true, false)),
-    (String ((Ascii (true, true, true, true, false, true, true, false)),
-    (String ((Ascii (true, false, true, false, true, true, true, false)),
-    (String ((Ascii (false, true, true, true, false, true, true, false)),
-    (String ((Ascii (false, false, true, false, true, true, true, false)),
-    EmptyString)))))))))))))))))))))))))))))))))), (S (S (S (S (S (S (S (S
-    O)))))))))) :: ((SNum ((String ((Ascii (true, false, true, false, false,
-    false, true, false)), (String ((Ascii (false, true, true, true, false,
-    true, true, false)), (String ((Ascii (false, false, true, false, true,
-    true, true, false)), (String ((Ascii (false, true, false, false, true,
-    true, true, false)), (String ((Ascii (true, false, false, true, true,
-    true, true, false)), (String ((Ascii (false, false, false, true, false,
-    false, true, false)), (String ((Ascii (true, false, false, false, false,
-    true, true, false)), (String ((Ascii (true, true, false, false, true,
-    true, true, false)), (String ((Ascii (false, false, false, true, false,
-    true, true, false)), EmptyString)))))))))))))))))), (S (S (S (S (S (S (S
-    (S (S (S O)))))))))))) :: ((SNum ((String ((Ascii (false, false, true,
-    false, true, false, true, false)), (String ((Ascii (true, true, true,
-    true, false, true, true, false)), (String ((Ascii (false, false, true,
-    false, true, true, true, false)), (String ((Ascii (true, false, false,
-    false, false, true, true, false)), (String ((Ascii (false, false, true,
-    true, false, true, true, false)), (String ((Ascii (false, false, true,
-    false, false, false, true, false)), (String ((Ascii (true, false, true,
-    false, false, true, true, false)), (String ((Ascii (false, true, false,
-    false, false, true, true, false)), (String ((Ascii (true, false, false,
-    true, false, true, true, false)), (String ((Ascii (false, false, true,
-    false, true, true, true, false)), (String ((Ascii (true, false, true,
-    false, false, false, true, false)), (String ((Ascii (false, true, true,
-    true, false, true, true, false)), (String ((Ascii (false, false, true,
-    false, true, true, true, false)), (String ((Ascii (false, true, false,
-    false, true, true, true, false)), (String ((Ascii (true, false, false,
-    true, true, true, true, false)), (String ((Ascii (false, false, true,
-    false, false, false, true, false)), (String ((Ascii (true, true, true,
-    true, false, true, true, false)), (String ((Ascii (false, false, true,
-    true, false, true, true, false)), (String ((Ascii (false, false, true,
-    true, false, true, true, false)), (String ((Ascii (true, false, false,
-    false, false, true, true, false)), (String ((Ascii (false, true, false,
-    false, true, true, true, false)), (String ((Ascii (true, false, false,
-    false, false, false, true, false)), (String ((Ascii (true, false, true,
-    true, false, true, true, false)), (String ((Ascii (true, true, true,
-    true, false, true, true, false)), (String ((Ascii (true, false, true,
-    false, true, true, true, false)), (String ((Ascii (false, true, true,
-    true, false, true, true, false)), (String ((Ascii (false, false, true,
-    false, true, true, true, false)), (String ((Ascii (true, false, false,
-    true, false, false, true, false)), (String ((Ascii (false, true, true,
-    true, false, true, true, false)), (String ((Ascii (false, true, true,
-    false, false, false, true, false)), (String ((Ascii (true, false, false,
-    true, false, true, true, false)), (String ((Ascii (false, false, true,
-    true, false, true, true, false)), (String ((Ascii (true, false, true,
-    false, false, true, true, false)),
-    EmptyString)))))))))))))))))))))))))))))))))))))))))))))))))))))))))))))))))),
-    (S (S (S (S (S (S (S (S (S (S (S (S (S (S (S (S (S (S (S (S
-    O)))))))))))))))))))))) :: ((SNum ((String ((Ascii (false, false, true,
-    false, true, false, true, false)), (String ((Ascii (true, true, true,
-    true, false, true, true, false)), (String ((Ascii (false, false, true,
-    false, true, true, true, false)), (String ((Ascii (true, false, false,
-    false, false, true, true, false)), (String ((Ascii (false, false, true,
-    true, false, true, true, false)), (String ((Ascii (true, true, false,
-    false, false, false, true, false)), (String ((Ascii (false, true, false,
-    false, true, true, true, false)), (String ((Ascii (true, false, true,
-    false, false, true, true, false)), (String ((Ascii (false, false, true,
-    false, false, true, true, false)), (String ((Ascii (true, false, false,
-    true, false, true, true, false)), (String ((Ascii (false, false, true,
-    false, true, true, true, false)), (String ((Ascii (true, false, true,
-    false, false, false, true, false)), (String ((Ascii (false, true, true,
-    true, false, true, true, false)), (String ((Ascii (false, false, true,
-    false, true, true, true, false)), (String ((Ascii (false, true, false,
-    false, true, true, true, false)), (String ((Ascii (true, false, false,
-    true, true, true, true, false)), (String ((Ascii (false, false, true,
-    false, false, false, true, false)), (String ((Ascii (true, true, true,
-    true, false, true, true, false)), (String ((Ascii (false, false, true,
-    true, false, true, true, false)), (String ((Ascii (false, false, true,
-    true, false, true, true, false)), (String ((Ascii (true, false, false,
-    false, false, true, true, false)), (String ((Ascii (false, true, false,
-    false, true, true, true, false)), (String ((Ascii (true, false, false,
-    false, false, false, true, false)), (String ((Ascii (true, false, true,
-    true, false, true, true, false)), (String ((Ascii (true, true, true,
-    true, false, true, true, false)), (String ((Ascii (true, false, true,
-    false, true, true, true, false)), (String ((Ascii (false, true, true,
-    true, false, true, true, false)), (String ((Ascii (false, false, true,
-    false, true, true, true, false)), (String ((Ascii (true, false, false,
-    true, false, false, true, false)), (String ((Ascii (false, true, true,
-    true, false, true, true, false)), (String ((Ascii (false, true, true,
-    false, false, false, true, false)), (String ((Ascii (true, false, false,
-    true, false, true, true, false)), (String ((Ascii (false, false, true,
-    true, false, true, true, false)), (String ((Ascii (true, false, true,
-    false, false, true, true, false)),
-    EmptyString)))))))))))))))))))))))))))))))))))))))))))))))))))))))))))))))))))),
-    (S (S (S (S (S (S (S (S (S (S (S (S (S (S (S (S (S (S (S (S
-    O)))))))))))))))))))))) :: ((SLit ((Npos (XO (XO (XO (XO (XO
-    XH)))))) :: ((Npos (XO (XO (XO (XO (XO XH)))))) :: ((Npos (XO (XO (XO (XO
-    (XO XH)))))) :: ((Npos (XO (XO (XO (XO (XO XH)))))) :: ((Npos (XO (XO (XO
-    (XO (XO XH)))))) :: ((Npos (XO (XO (XO (XO (XO XH)))))) :: ((Npos (XO (XO
-    (XO (XO (XO XH)))))) :: ((Npos (XO (XO (XO (XO (XO XH)))))) :: ((Npos (XO
-    (XO (XO (XO (XO XH)))))) :: ((Npos (XO (XO (XO (XO (XO XH)))))) :: ((Npos
-    (XO (XO (XO (XO (XO XH)))))) :: ((Npos (XO (XO (XO (XO (XO
-    XH)))))) :: ((Npos (XO (XO (XO (XO (XO XH)))))) :: ((Npos (XO (XO (XO (XO
-    (XO XH)))))) :: ((Npos (XO (XO (XO (XO (XO XH)))))) :: ((Npos (XO (XO (XO
-    (XO (XO XH)))))) :: ((Npos (XO (XO (XO (XO (XO XH)))))) :: ((Npos (XO (XO
-    (XO (XO (XO XH)))))) :: ((Npos (XO (XO (XO (XO (XO XH)))))) :: ((Npos (XO
-    (XO (XO (XO (XO XH)))))) :: ((Npos (XO (XO (XO (XO (XO XH)))))) :: ((Npos
-    (XO (XO (XO (XO (XO XH)))))) :: ((Npos (XO (XO (XO (XO (XO
-    XH)))))) :: [])))))))))))))))))))))))) :: [])))))))); l_cuts =
-    ((mkcut (S O) (S (S (S (S (S (S (S O))))))) (String ((Ascii (false, true,
-       false, false, false, false, true, false)), (String ((Ascii (true,
-       false, false, false, false, true, true, false)), (String ((Ascii
-       (false, false, true, false, true, true, true, false)), (String ((Ascii
-       (true, true, false, false, false, true, true, false)), (String ((Ascii
-       (false, false, false, true, false, true, true, false)), (String
-       ((Ascii (true, true, false, false, false, false, true, false)),
-       (String ((Ascii (true, true, true, true, false, true, true, false)),
-       (String ((Ascii (true, false, true, false, true, true, true, false)),
-       (String ((Ascii (false, true, true, true, false, true, true, false)),
-       (String ((Ascii (false, false, true, false, true, true, true, false)),
-       EmptyString)))))))))))))))))))) ((String ((Ascii (false, false, false,
-       false, true, true, true, false)), (String ((Ascii (true, false, false,
-       false, false, true, true, false)), (String ((Ascii (false, true,
-       false, false, true, true, true, false)), (String ((Ascii (true, true,
-       false, false, true, true, true, false)), (String ((Ascii (true, false,
-       true, false, false, true, true, false)), (String ((Ascii (false, true,
-       true, true, false, false, true, false)), (String ((Ascii (true, false,
-       true, false, true, true, true, false)), (String ((Ascii (true, false,
-       true, true, false, true, true, false)), (String ((Ascii (false, true,
-       true, false, false, false, true, false)), (String ((Ascii (true,
-       false, false, true, false, true, true, false)), (String ((Ascii (true,
-       false, true, false, false, true, true, false)), (String ((Ascii
-       (false, false, true, true, false, true, true, false)), (String ((Ascii
-       (false, false, true, false, false, true, true, false)),
-       EmptyString)))))))))))))))))))))))))) :: [])) :: ((mkcut (S (S (S (S
-                                                           (S (S (S O)))))))
-                                                           (S (S (S (S (S (S
-                                                           (S (S (S (S (S (S
-                                                           (S O)))))))))))))
-                                                           (String ((Ascii
-                                                           (false, true,
-                                                           false, false,
-                                                           false, false,
-                                                           true, false)),
-                                                           (String ((Ascii
-                                                           (false, false,
-                                                           true, true, false,
-                                                           true, true,
-                                                           false)), (String
-                                                           ((Ascii (true,
-                                                           true, true, true,
-                                                           false, true, true,
-                                                           false)), (String
-                                                           ((Ascii (true,
-                                                           true, false,
-                                                           false, false,
-                                                           true, true,
-                                                           false)), (String
-                                                           ((Ascii (true,
-                                                           true, false, true,
-                                                           false, true, true,
-                                                           false)), (String
-                                                           ((Ascii (true,
-                                                           true, false,
-                                                           false, false,
-                                                           false, true,
-                                                           false)), (String
-                                                           ((Ascii (true,
-                                                           true, true, true,
-                                                           false, true, true,
-                                                           false)), (String
-                                                           ((Ascii (true,
-                                                           false, true,
-                                                           false, true, true,
-                                                           true, false)),
-                                                           (String ((Ascii
-                                                           (false, true,
-                                                           true, true, false,
-                                                           true, true,
-                                                           false)), (String
-                                                           ((Ascii (false,
-                                                           false, true,
-                                                           false, true, true,
-                                                           true, false)),
-                                                           EmptyString))))))))))))))))))))
-                                                           ((String ((Ascii
-                                                           (false, false,
-                                                           false, false,
-                                                           true, true, true,
-                                                           false)), (String
-                                                           ((Ascii (true,
-                                                           false, false,
-                                                           false, false,
-                                                           true, true,
-                                                           false)), (String
-                                                           ((Ascii (false,
-                                                           true, false,
-                                                           false, true, true,
-                                                           true, false)),
-                                                           (String ((Ascii
-                                                           (true, true,
-                                                           false, false,
-                                                           true, true, true,
-                                                           false)), (String
-                                                           ((Ascii (true,
-                                                           false, true,
-                                                           false, false,
-                                                           true, true,
-                                                           false)), (String
-                                                           ((Ascii (false,
-                                                           true, true, true,
-                                                           false, false,
-                                                           true, false)),
-                                                           (String ((Ascii
-                                                           (true, false,
-                                                           true, false, true,
-                                                           true, true,
-                                                           false)), (String
-                                                           ((Ascii (true,
-                                                           false, true, true,
-                                                           false, true, true,
-                                                           false)), (String
-                                                           ((Ascii (false,
-                                                           true, true, false,
-                                                           false, false,
-                                                           true, false)),
-                                                           (String ((Ascii
-                                                           (true, false,
-                                                           false, true,
-                                                           false, true, true,
-                                                           false)), (String
-                                                           ((Ascii (true,
-                                                           false, true,
-                                                           false, false,
-                                                           true, true,
-                                                           false)), (String
-                                                           ((Ascii (false,
-                                                           false, true, true,
-                                                           false, true, true,
-                                                           false)), (String
-                                                           ((Ascii (false,
-                                                           false, true,
-                                                           false, false,
-                                                           true, true,
-                                                           false)),
-                                                           EmptyString)))))))))))))))))))))))))) :: [])) :: (
-    (mkcut (S (S (S (S (S (S (S (S (S (S (S (S (S O))))))))))))) (S (S (S (S
-      (S (S (S (S (S (S (S (S (S (S (S (S (S (S (S (S (S
-      O))))))))))))))))))))) (String ((Ascii (true, false, true, false,
-      false, false, true, false)), (String ((Ascii (false, true, true, true,
-      false, true, true, false)), (String ((Ascii (false, false, true, false,
-      true, true, true, false)), (String ((Ascii (false, true, false, false,
-      true, true, true, false)), (String ((Ascii (true, false, false, true,
-      true, true, true, false)), (String ((Ascii (true, false, false, false,
-      false, false, true, false)), (String ((Ascii (false, false, true,
-      false, false, true, true, false)), (String ((Ascii (false, false, true,
-      false, false, true, true, false)), (String ((Ascii (true, false, true,
-      false, false, true, true, false)), (String ((Ascii (false, true, true,
-      true, false, true, true, false)), (String ((Ascii (false, false, true,
-      false, false, true, true, false)), (String ((Ascii (true, false, false,
-      false, false, true, true, false)), (String ((Ascii (true, true, false,
-      false, false, false, true, false)), (String ((Ascii (true, true, true,
-      true, false, true, true, false)), (String ((Ascii (true, false, true,
-      false, true, true, true, false)), (String ((Ascii (false, true, true,
-      true, false, true, true, false)), (String ((Ascii (false, false, true,
-      false, true, true, true, false)),
-      EmptyString)))))))))))))))))))))))))))))))))) ((String ((Ascii (false,
-      false, false, false, true, true, true, false)), (String ((Ascii (true,
-      false, false, false, false, true, true, false)), (String ((Ascii
-      (false, true, false, false, true, true, true, false)), (String ((Ascii
-      (true, true, false, false, true, true, true, false)), (String ((Ascii
-      (true, false, true, false, false, true, true, false)), (String ((Ascii
-      (false, true, true, true, false, false, true, false)), (String ((Ascii
-      (true, false, true, false, true, true, true, false)), (String ((Ascii
-      (true, false, true, true, false, true, true, false)), (String ((Ascii
-      (false, true, true, false, false, false, true, false)), (String ((Ascii
-      (true, false, false, true, false, true, true, false)), (String ((Ascii
-      (true, false, true, false, false, true, true, false)), (String ((Ascii
-      (false, false, true, true, false, true, true, false)), (String ((Ascii
-      (false, false, true, false, false, true, true, false)),
-      EmptyString)))))))))))))))))))))))))) :: [])) :: ((mkcut (S (S (S (S (S
-                                                          (S (S (S (S (S (S
-                                                          (S (S (S (S (S (S
-                                                          (S (S (S (S
-                                                          O)))))))))))))))))))))
-                                                          (S (S (S (S (S (S
-                                                          (S (S (S (S (S (S
-                                                          (S (S (S (S (S (S
-                                                          (S (S (S (S (S (S
-                                                          (S (S (S (S (S (S
-                                                          (S
-                                                          O)))))))))))))))))))))))))))))))
-                                                          (String ((Ascii
-                                                          (true, false, true,
-                                                          false, false,
-                                                          false, true,
-                                                          false)), (String
-                                                          ((Ascii (false,
-                                                          true, true, true,
-                                                          false, true, true,
-                                                          false)), (String
-                                                          ((Ascii (false,
-                                                          false, true, false,
-                                                          true, true, true,
-                                                          false)), (String
-                                                          ((Ascii (false,
-                                                          true, false, false,
-                                                          true, true, true,
-                                                          false)), (String
-                                                          ((Ascii (true,
-                                                          false, false, true,
-                                                          true, true, true,
-                                                          false)), (String
-                                                          ((Ascii (false,
-                                                          false, false, true,
-                                                          false, false, true,
-                                                          false)), (String
-                                                          ((Ascii (true,
-                                                          false, false,
-                                                          false, false, true,
-                                                          true, false)),
-                                                          (String ((Ascii
-                                                          (true, true, false,
-                                                          false, true, true,
-                                                          true, false)),
-                                                          (String ((Ascii
-                                                          (false, false,
-                                                          false, true, false,
-                                                          true, true,
-                                                          false)),
-                                                          EmptyString))))))))))))))))))
-                                                          ((String ((Ascii
-                                                          (false, false,
-                                                          false, false, true,
-                                                          true, true,
-                                                          false)), (String
-                                                          ((Ascii (true,
-                                                          false, false,
-                                                          false, false, true,
-                                                          true, false)),
-                                                          (String ((Ascii
-                                                          (false, true,
-                                                          false, false, true,
-                                                          true, true,
-                                                          false)), (String
-                                                          ((Ascii (true,
-                                                          true, false, false,
-                                                          true, true, true,
-                                                          false)), (String
-                                                          ((Ascii (true,
-                                                          false, true, false,
-                                                          false, true, true,
-                                                          false)), (String
-                                                          ((Ascii (false,
-                                                          true, true, true,
-                                                          false, false, true,
-                                                          false)), (String
-                                                          ((Ascii (true,
-                                                          false, true, false,
-                                                          true, true, true,
-                                                          false)), (String
-                                                          ((Ascii (true,
-                                                          false, true, true,
-                                                          false, true, true,
-                                                          false)), (String
-                                                          ((Ascii (false,
-                                                          true, true, false,
-                                                          false, false, true,
-                                                          false)), (String
-                                                          ((Ascii (true,
-                                                          false, false, true,
-                                                          false, true, true,
-                                                          false)), (String
-                                                          ((Ascii (true,
-                                                          false, true, false,
-                                                          false, true, true,
-                                                          false)), (String
-                                                          ((Ascii (false,
-                                                          false, true, true,
-                                                          false, true, true,
-                                                          false)), (String
-                                                          ((Ascii (false,
-                                                          false, true, false,
-                                                          false, true, true,
-                                                          false)),
-                                                          EmptyString)))))))))))))))))))))))))) :: [])) :: (
-    (mkcut (S (S (S (S (S (S (S (S (S (S (S (S (S (S (S (S (S (S (S (S (S (S
-      (S (S (S (S (S (S (S (S (S O))))))))))))))))))))))))))))))) (S (S (S (S
-      (S (S (S (S (S (S (S (S (S (S (S (S (S (S (S (S (S (S (S (S (S (S (S (S
-      (S (S (S (S (S (S (S (S (S (S (S (S (S (S (S (S (S (S (S (S (S (S (S
-      O))))))))))))))))))))))))))))))))))))))))))))))))))) (String ((Ascii
-      (false, false, true, false, true, false, true, false)), (String ((Ascii
-      (true, true, true, true, false, true, true, false)), (String ((Ascii
-      (false, false, true, false, true, true, true, false)), (String ((Ascii
-      (true, false, false, false, false, true, true, false)), (String ((Ascii
-      (false, false, true, true, false, true, true, false)), (String ((Ascii
-      (false, false, true, false, false, false, true, false)), (String
-      ((Ascii (true, false, true, false, false, true, true, false)), (String
-      ((Ascii (false, true, false, false, false, true, true, false)), (String
-      ((Ascii (true, false, false, true, false, true, true, false)), (String
-      ((Ascii (false, false, true, false, true, true, true, false)), (String
-      ((Ascii (true, false, true, false, false, false, true, false)), (String
-      ((Ascii (false, true, true, true, false, true, true, false)), (String
-      ((Ascii (false, false, true, false, true, true, true, false)), (String
-      ((Ascii (false, true, false, false, true, true, true, false)), (String
-      ((Ascii (true, false, false, true, true, true, true, false)), (String
-      ((Ascii (false, false, true, false, false, false, true, false)),
-      (String ((Ascii (true, true, true, true, false, true, true, false)),
-      (String ((Ascii (false, false, true, true, false, true, true, false)),
-      (String ((Ascii (false, false, true, true, false, true, true, false)),
-      (String ((Ascii (true, false, false, false, false, true, true, false)),
-      (String ((Ascii (false, true, false, false, true, true, true, false)),
-      (String ((Ascii (true, false, false, false, false, false, true,
-      false)), (String ((Ascii (true, false, true, true, false, true, true,
-      false)), (String ((Ascii (true, true, true, true, false, true, true,
-      false)), (String ((Ascii (true, false, true, false, true, true, true,
-      false)), (String ((Ascii (false, true, true, true, false, true, true,
-      false)), (String ((Ascii (false, false, true, false, true, true, true,
-      false)), (String ((Ascii (true, false, false, true, false, false, true,
-      false)), (String ((Ascii (false, true, true, true, false, true, true,
-      false)), (String ((Ascii (false, true, true, false, false, false, true,
-      false)), (String ((Ascii (true, false, false, true, false, true, true,
-      false)), (String ((Ascii (false, false, true, true, false, true, true,
-      false)), (String ((Ascii (true, false, true, false, false, true, true,
-      false)),
-      EmptyString))))))))))))))))))))))))))))))))))))))))))))))))))))))))))))))))))
-      ((String ((Ascii (false, false, false, false, true, true, true,
-      false)), (String ((Ascii (true, false, false, false, false, true, true,
-      false)), (String ((Ascii (false, true, false, false, true, true, true,
-      false)), (String ((Ascii (true, true, false, false, true, true, true,
-      false)), (String ((Ascii (true, false, true, false, false, true, true,
-      false)), (String ((Ascii (false, true, true, true, false, false, true,
-      false)), (String ((Ascii (true, false, true, false, true, true, true,
-      false)), (String ((Ascii (true, false, true, true, false, true, true,
-      false)), (String ((Ascii (false, true, true, false, false, false, true,
-      false)), (String ((Ascii (true, false, false, true, false, true, true,
-      false)), (String ((Ascii (true, false, true, false, false, true, true,
-      false)), (String ((Ascii (false, false, true, true, false, true, true,
-      false)), (String ((Ascii (false, false, true, false, false, true, true,
-      false)), EmptyString)))))))))))))))))))))))))) :: [])) :: ((mkcut (S (S
-                                                                   (S (S (S
-                                                                   (S (S (S
-                                                                   (S (S (S
-                                                                   (S (S (S
-                                                                   (S (S (S
-                                                                   (S (S (S
-                                                                   (S (S (S
-                                                                   (S (S (S
-                                                                   (S (S (S
-                                                                   (S (S (S
-                                                                   (S (S (S
-                                                                   (S (S (S
-                                                                   (S (S (S
-                                                                   (S (S (S
-                                                                   (S (S (S
-                                                                   (S (S (S
-                                                                   (S
-                                                                   O)))))))))))))))))))))))))))))))))))))))))))))))))))
-                                                                   (S (S (S
-                                                                   (S (S (S
-                                                                   (S (S (S
-                                                                   (S (S (S
-                                                                   (S (S (S
-                                                                   (S (S (S
-                                                                   (S (S (S
-                                                                   (S (S (S
-                                                                   (S (S (S
-                                                                   (S (S (S
-                                                                   (S (S (S
-                                                                   (S (S (S
-                                                                   (S (S (S
-                                                                   (S (S (S
-                                                                   (S (S (S
-                                                                   (S (S (S
-                                                                   (S (S (S
-                                                                   (S (S (S
-                                                                   (S (S (S
-                                                                   (S (S (S
-                                                                   (S (S (S
-                                                                   (S (S (S
-                                                                   (S (S (S
-                                                                   (S (S
-                                                                   O)))))))))))))))))))))))))))))))))))))))))))))))))))))))))))))))))))))))
-                                                                   (String
-                                                                   ((Ascii
-                                                                   (false,
-                                                                   false,
-                                                                   true,
-                                                                   false,
-                                                                   true,
-                                                                   false,
-                                                                   true,
-                                                                   false)),
-                                                                   (String
-                                                                   ((Ascii
-                                                                   (true,
-                                                                   true,
-                                                                   true,
-                                                                   true,
-                                                                   false,
-                                                                   true,
-                                                                   true,
-                                                                   false)),
-                                                                   (String
-                                                                   ((Ascii
-                                                                   (false,
-                                                                   false,
-                                                                   true,
-                                                                   false,
-                                                                   true,
-                                                                   true,
-                                                                   true,
-                                                                   false)),
-                                                                   (String
-                                                                   ((Ascii
-                                                                   (true,
-                                                                   false,
-                                                                   false,
-                                                                   false,
-                                                                   false,
-                                                                   true,
-                                                                   true,
-                                                                   false)),
-                                                                   (String
-                                                                   ((Ascii
-                                                                   (false,
-                                                                   false,
-                                                                   true,
-                                                                   true,
-                                                                   false,
-                                                                   true,
-                                                                   true,
-                                                                   false)),
-                                                                   (String
-                                                                   ((Ascii
-                                                                   (true,
-                                                                   true,
-                                                                   false,
-                                                                   false,
-                                                                   false,
-                                                                   false,
-                                                                   true,
-                                                                   false)),
-                                                                   (String
-                                                                   ((Ascii
-                                                                   (false,
-                                                                   true,
-                                                                   false,
-                                                                   false,
-                                                                   true,
-                                                                   true,
-                                                                   true,
-                                                                   false)),
-                                                                   (String
-                                                                   ((Ascii
-                                                                   (true,
-                                                                   false,
-                                                                   true,
-                                                                   false,
-                                                                   false,
-                                                                   true,
-                                                                   true,
-                                                                   false)),
-                                                                   (String
-                                                                   ((Ascii
-                                                                   (false,
-                                                                   false,
-                                                                   true,
-                                                                   false,
-                                                                   false,
-                                                                   true,
-                                                                   true,
-                                                                   false)),
-                                                                   (String
-                                                                   ((Ascii
-                                                                   (true,
-                                                                   false,
-                                                                   false,
-                                                                   true,
-                                                                   false,
-                                                                   true,
-                                                                   true,
-                                                                   false)),
-                                                                   (String
-                                                                   ((Ascii
-                                                                   (false,
-                                                                   false,
-                                                                   true,
-                                                                   false,
-                                                                   true,
-                                                                   true,
-                                                                   true,
-                                                                   false)),
-                                                                   (String
-                                                                   ((Ascii
-                                                                   (true,
-                                                                   false,
-                                                                   true,
-                                                                   false,
-                                                                   false,
-                                                                   false,
-                                                                   true,
-                                                                   false)),
-                                                                   (String
-                                                                   ((Ascii
-                                                                   (false,
-                                                                   true,
-                                                                   true,
-                                                                   true,
-                                                                   false,
-                                                                   true,
-                                                                   true,
-                                                                   false)),
-                                                                   (String
-                                                                   ((Ascii
-                                                                   (false,
-                                                                   false,
-                                                                   true,
-                                                                   false,
-                                                                   true,
-                                                                   true,
-                                                                   true,
-                                                                   false)),
-                                                                   (String
-                                                                   ((Ascii
-                                                                   (false,
-                                                                   true,
-                                                                   false,
-                                                                   false,
-                                                                   true,
-                                                                   true,
-                                                                   true,
-                                                                   false)),
-                                                                   (String
-                                                                   ((Ascii
-                                                                   (true,
-                                                                   false,
-                                                                   false,
-                                                                   true,
-                                                                   true,
-                                                                   true,
-                                                                   true,
-                                                                   false)),
-                                                                   (String
-                                                                   ((Ascii
-                                                                   (false,
-                                                                   false,
-                                                                   true,
-                                                                   false,
-                                                                   false,
-                                                                   false,
-                                                                   true,
-                                                                   false)),
-                                                                   (String
-                                                                   ((Ascii
-                                                                   (true,
-                                                                   true,
-                                                                   true,
-                                                                   true,
-                                                                   false,
-                                                                   true,
-                                                                   true,
-                                                                   false)),
-                                                                   (String
-                                                                   ((Ascii
-                                                                   (false,
-                                                                   false,
-                                                                   true,
-                                                                   true,
-                                                                   false,
-                                                                   true,
-                                                                   true,
-                                                                   false)),
-                                                                   (String
-                                                                   ((Ascii
-                                                                   (false,
-                                                                   false,
-                                                                   true,
-                                                                   true,
-                                                                   false,
-                                                                   true,
-                                                                   true,
-                                                                   false)),
-                                                                   (String
-                                                                   ((Ascii
-                                                                   (true,
-                                                                   false,
-                                                                   false,
-                                                                   false,
-                                                                   false,
-                                                                   true,
-                                                                   true,
-                                                                   false)),
-                                                                   (String
-                                                                   ((Ascii
-                                                                   (false,
-                                                                   true,
-                                                                   false,
-                                                                   false,
-                                                                   true,
-                                                                   true,
-                                                                   true,
-                                                                   false)),
-                                                                   (String
-                                                                   ((Ascii
-                                                                   (true,
-                                                                   false,
-                                                                   false,
-                                                                   false,
-                                                                   false,
-                                                                   false,
-                                                                   true,
-                                                                   false)),
-                                                                   (String
-                                                                   ((Ascii
-                                                                   (true,
-                                                                   false,
-                                                                   true,
-                                                                   true,
-                                                                   false,
-                                                                   true,
-                                                                   true,
-                                                                   false)),
-                                                                   (String
-                                                                   ((Ascii
-                                                                   (true,
-                                                                   true,
-                                                                   true,
-                                                                   true,
-                                                                   false,
-                                                                   true,
-                                                                   true,
-                                                                   false)),
-                                                                   (String
-                                                                   ((Ascii
-                                                                   (true,
-                                                                   false,
-                                                                   true,
-                                                                   false,
-                                                                   true,
-                                                                   true,
-                                                                   true,
-                                                                   false)),
-                                                                   (String
-                                                                   ((Ascii
-                                                                   (false,
-                                                                   true,
-                                                                   true,
-                                                                   true,
-                                                                   false,
-                                                                   true,
-                                                                   true,
-                                                                   false)),
-                                                                   (String
-                                                                   ((Ascii
-                                                                   (false,
-                                                                   false,
-                                                                   true,
-                                                                   false,
-                                                                   true,
-                                                                   true,
-                                                                   true,
-                                                                   false)),
-                                                                   (String
-                                                                   ((Ascii
-                                                                   (true,
-                                                                   false,
-                                                                   false,
-                                                                   true,
-                                                                   false,
-                                                                   false,
-                                                                   true,
-                                                                   false)),
-                                                                   (String
-                                                                   ((Ascii
-                                                                   (false,
-                                                                   true,
-                                                                   true,
-                                                                   true,
-                                                                   false,
-                                                                   true,
-                                                                   true,
-                                                                   false)),
-                                                                   (String
-                                                                   ((Ascii
-                                                                   (false,
-                                                                   true,
-                                                                   true,
-                                                                   false,
-                                                                   false,
-                                                                   false,
-                                                                   true,
-                                                                   false)),
-                                                                   (String
-                                                                   ((Ascii
-                                                                   (true,
-                                                                   false,
-                                                                   false,
-                                                                   true,
-                                                                   false,
-                                                                   true,
-                                                                   true,
-                                                                   false)),
-                                                                   (String
-                                                                   ((Ascii
-                                                                   (false,
-                                                                   false,
-                                                                   true,
-                                                                   true,
-                                                                   false,
-                                                                   true,
-                                                                   true,
-                                                                   false)),
-                                                                   (String
-                                                                   ((Ascii
-                                                                   (true,
-                                                                   false,
-                                                                   true,
-                                                                   false,
-                                                                   false,
-                                                                   true,
-                                                                   true,
-                                                                   false)),
-                                                                   EmptyString))))))))))))))))))))))))))))))))))))))))))))))))))))))))))))))))))))
-                                                                   ((String
-                                                                   ((Ascii
-                                                                   (false,
-                                                                   false,
-                                                                   false,
-                                                                   false,
-                                                                   true,
-                                                                   true,
-                                                                   true,
-                                                                   false)),
-                                                                   (String
-                                                                   ((Ascii
-                                                                   (true,
-                                                                   false,
-                                                                   false,
-                                                                   false,
-                                                                   false,
-                                                                   true,
-                                                                   true,
-                                                                   false)),
-                                                                   (String
-                                                                   ((Ascii
-                                                                   (false,
-                                                                   true,
-                                                                   false,
-                                                                   false,
-                                                                   true,
-                                                                   true,
-                                                                   true,
-                                                                   false)),
-                                                                   (String
-                                                                   ((Ascii
-                                                                   (true,
-                                                                   true,
-                                                                   false,
-                                                                   false,
-                                                                   true,
-                                                                   true,
-                                                                   true,
-                                                                   false)),
-                                                                   (String
-                                                                   ((Ascii
-                                                                   (true,
-                                                                   false,
-                                                                   true,
-                                                                   false,
-                                                                   false,
-                                                                   true,
-                                                                   true,
-                                                                   false)),
-                                                                   (String
-                                                                   ((Ascii
-                                                                   (false,
-                                                                   true,
-                                                                   true,
-                                                                   true,
-                                                                   false,
-                                                                   false,
-                                                                   true,
-                                                                   false)),
-                                                                   (String
-                                                                   ((Ascii
-                                                                   (true,
-                                                                   false,
-                                                                   true,
-                                                                   false,
-                                                                   true,
-                                                                   true,
-                                                                   true,
-                                                                   false)),
-                                                                   (String
-                                                                   ((Ascii
-                                                                   (true,
-                                                                   false,
-                                                                   true,
-                                                                   true,
-                                                                   false,
-                                                                   true,
-                                                                   true,
-                                                                   false)),
-                                                                   (String
-                                                                   ((Ascii
-                                                                   (false,
-                                                                   true,
-                                                                   true,
-                                                                   false,
-                                                                   false,
-                                                                   false,
-                                                                   true,
-                                                                   false)),
-                                                                   (String
-                                                                   ((Ascii
-                                                                   (true,
-                                                                   false,
-                                                                   false,
-                                                                   true,
-                                                                   false,
-                                                                   true,
-                                                                   true,
-                                                                   false)),
-                                                                   (String
-                                                                   ((Ascii
-                                                                   (true,
-                                                                   false,
-                                                                   true,
-                                                                   false,
-                                                                   false,
-                                                                   true,
-                                                                   true,
-                                                                   false)),
-                                                                   (String
-                                                                   ((Ascii
-                                                                   (false,
-                                                                   false,
-                                                                   true,
-                                                                   true,
-                                                                   false,
-                                                                   true,
-                                                                   true,
-                                                                   false)),
-                                                                   (String
-                                                                   ((Ascii
-                                                                   (false,
-                                                                   false,
-                                                                   true,
-                                                                   false,
-                                                                   false,
-                                                                   true,
-                                                                   true,
-                                                                   false)),
-                                                                   EmptyString)))))))))))))))))))))))))) :: [])) :: [])))))) }
+let amount_iat_arms =
+  { sa_codes = ((Zpos (XO (XI (XI (XO XH))))) :: ((Zpos (XI (XO (XI (XO
+    XH))))) :: ((Zpos (XI (XI (XI (XO XH))))) :: ((Zpos (XO (XO (XO (XI
+    XH))))) :: ((Zpos (XO (XO (XO (XO (XO XH)))))) :: ((Zpos (XI (XI (XI (XI
+    XH))))) :: ((Zpos (XI (XO (XO (XO (XO XH)))))) :: ((Zpos (XO (XI (XO (XO
+    (XO XH)))))) :: ((Zpos (XO (XI (XO (XI (XO XH)))))) :: ((Zpos (XI (XO (XO
+    (XI (XO XH)))))) :: ((Zpos (XI (XI (XO (XI (XO XH)))))) :: ((Zpos (XO (XO
+    (XI (XI (XO XH)))))) :: ((Zpos (XO (XO (XI (XO (XI XH)))))) :: ((Zpos (XI
+    (XI (XO (XO (XI XH)))))) :: ((Zpos (XI (XO (XI (XO (XI XH)))))) :: ((Zpos
+    (XO (XI (XI (XO (XI XH)))))) :: [])))))))))))))))); sa_target = TCredit;
+    sa_unknown = false } :: ({ sa_codes = ((Zpos (XI (XI (XO (XI
+    XH))))) :: ((Zpos (XO (XI (XO (XI XH))))) :: ((Zpos (XO (XO (XI (XI
+    XH))))) :: ((Zpos (XI (XO (XI (XI XH))))) :: ((Zpos (XI (XO (XI (XO (XO
+    XH)))))) :: ((Zpos (XO (XO (XI (XO (XO XH)))))) :: ((Zpos (XO (XI (XI (XO
+    (XO XH)))))) :: ((Zpos (XI (XI (XI (XO (XO XH)))))) :: ((Zpos (XI (XI (XI
+    (XI (XO XH)))))) :: ((Zpos (XO (XI (XI (XI (XO XH)))))) :: ((Zpos (XO (XO
+    (XO (XO (XI XH)))))) :: ((Zpos (XI (XO (XO (XO (XI XH)))))) :: ((Zpos (XI
+    (XI (XI (XO (XI XH)))))) :: ((Zpos (XO (XO (XO (XI (XI
+    XH)))))) :: [])))))))))))))); sa_target = TDebit; sa_unknown =
+    false } :: [])
 
-(** val l_Addenda02 : layout **)
+(** val amount_adv_arms : seg_arm list **)
 
-let l_Addenda02 =
-  { l_name = (String ((Ascii (true, false, false, false, false, false, true,
-    false)), (String ((Ascii (false, false, true, false, false, true, true,
-    false)), (String ((Ascii (false, false, true, false, false, true, true,
-    false)), (String ((Ascii (true, false, true, false, false, true, true,
-    false)), (String ((Ascii (false, true, true, true, false, true, true,
-    false)), (String ((Ascii (false, false, true, false, false, true, true,
-    false)), (String ((Ascii (true, false, false, false, false, true, true,
-    false)), (String ((Ascii (false, false, false, false, true, true, false,
-    false)), (String ((Ascii (false, true, false, false, true, true, false,
-    false)), EmptyString)))))))))))))))))); l_ix = IRune; l_segs = ((SLit
-    ((Npos (XI (XI (XI (XO (XI XH)))))) :: [])) :: ((SRaw (String ((Ascii
-    (false, false, true, false, true, false, true, false)), (String ((Ascii
-    (true, false, false, true, true, true, true, false)), (String ((Ascii
-    (false, false, false, false, true, true, true, false)), (String ((Ascii
-    (true, false, true, false, false, true, true, false)), (String ((Ascii
-    (true, true, false, false, false, false, true, false)), (String ((Ascii
-    (true, true, true, true, false, true, true, false)), (String ((Ascii
-    (false, false, true, false, false, true, true, false)), (String ((Ascii
-    (true, false, true, false, false, true, true, false)),
-    EmptyString))))))))))))))))) :: ((SAlpha ((String ((Ascii (false, true,
-    false, false, true, false, true, false)), (String ((Ascii (true, false,
-    true, false, false, true, true, false)), (String ((Ascii (false, true,
-    true, false, false, true, true, false)), (String ((Ascii (true, false,
-    true, false, false, true, true, false)), (String ((Ascii (false, true,
-    false, false, true, true, true, false)), (String ((Ascii (true, false,
-    true, false, false, true, true, false)), (String ((Ascii (false, true,
-    true, true, false, true, true, false)), (String ((Ascii (true, true,
-    false, false, false, true, true, false)), (String ((Ascii (true, false,
-    true, false, false, true, true, false)), (String ((Ascii (true, false,
-    false, true, false, false, true, false)), (String ((Ascii (false, true,
-    true, true, false, true, true, false)), (String ((Ascii (false, true,
-    true, false, false, true, true, false)), (String ((Ascii (true, true,
-    true, true, false, true, true, false)), (String ((Ascii (false, true,
-    false, false, true, true, true, false)), (String ((Ascii (true, false,
-    true, true, false, true, true, false)), (String ((Ascii (true, false,
-    false, false, false, true, true, false)), (String ((Ascii (false, false,
-    true, false, true, true, true, false)), (String ((Ascii (true, false,
-    false, true, false, true, true, false)), (String ((Ascii (true, true,
-    true, true, false, true, true, false)), (String ((Ascii (false, true,
-    true, true, false, true, true, false)), (String ((Ascii (true, true,
-    true, true, false, false, true, false)), (String ((Ascii (false, true,
-    true, true, false, true, true, false)), (String ((Ascii (true, false,
-    true, false, false, true, true, false)),
-    EmptyString)))))))))))))))))))))))))))))))))))))))))))))), (S (S (S (S (S
-    (S (S O))))))))) :: ((SAlpha ((String ((Ascii (false, true, false, false,
-    true, false, true, false)), (String ((Ascii (true, false, true, false,
-    false, true, true, false)), (String ((Ascii (false, true, true, false,
-    false, true, true, false)), (String ((Ascii (true, false, true, false,
-    false, true, true, false)), (String ((Ascii (false, true, false, false,
-    true, true, true, false)), (String ((Ascii (true, false, true, false,
-    false, true, true, false)), (String ((Ascii (false, true, true, true,
-    false, true, true, false)), (String ((Ascii (true, true, false, false,
-    false, true, true, false)), (String ((Ascii (true, false, true, false,
-    false, true, true, false)), (String ((Ascii (true, false, false, true,
-    false, false, true, false)), (String ((Ascii (false, true, true, true,
-    false, true, true, false)), (String ((Ascii (false, true, true, false,
-    false, true, true, false)), (String ((Ascii (true, true, true, true,
-    false, true, true, false)), (String ((Ascii (false, true, false, false,
-    true, true, true, false)), (String ((Ascii (true, false, true, true,
-    false, true, true, false)), (String ((Ascii (true, false, false, false,
-    false, true, true, false)), (String ((Ascii (false, false, true, false,
-    true, true, true, false)), (String ((Ascii (true, false, false, true,
-    false, true, true, false)), (String ((Ascii (true, true, true, true,
-    false, true, true, false)), (String ((Ascii (false, true, true, true,
-    false, true, true, false)), (String ((Ascii (false, false, true, false,
-    true, false, true, false)), (String ((Ascii (true, true, true, false,
-    true, true, true, false)), (String ((Ascii (true, true, true, true,
-    false, true, true, false)),
-    EmptyString)))))))))))))))))))))))))))))))))))))))))))))), (S (S (S
-    O))))) :: ((SAlpha ((String ((Ascii (false, false, true, false, true,
-    false, true, false)), (String ((Ascii (true, false, true, false, false,
-    true, true, false)), (String ((Ascii (false, true, false, false, true,
-    true, true, false)), (String ((Ascii (true, false, true, true, false,
-    true, true, false)), (String ((Ascii (true, false, false, true, false,
-    true, true, false)), (String ((Ascii (false, true, true, true, false,
-    true, true, false)), (String ((Ascii (true, false, false, false, false,
-    true, true, false)), (String ((Ascii (false, false, true, true, false,
-    true, true, false)), (String ((Ascii (true, false, false, true, false,
-    false, true, false)), (String ((Ascii (false, false, true, false, false,
-    true, true, false)), (String ((Ascii (true, false, true, false, false,
-    true, true, false)), (String ((Ascii (false, true, true, true, false,
-    true, true, false)), (String ((Ascii (false, false, true, false, true,
-    true, true, false)), (String ((Ascii (true, false, false, true, false,
-    true, true, false)), (String ((Ascii (false, true, true, false, false,
-    true, true, false)), (String ((Ascii (true, false, false, true, false,
-    true, true, false)), (String ((Ascii (true, true, false, false, false,
-    true, true, false)), (String ((Ascii (true, false, false, false, false,
-    true, true, false)), (String ((Ascii (false, false, true, false, true,
-    true, true, false)), (String ((Ascii (true, false, false, true, false,
-    true, true, false)), (String ((Ascii (true, true, true, true, false,
-    true, true, false)), (String ((Ascii (false, true, true, true, false,
-    true, true, false)), (String ((Ascii (true, true, false, false, false,
-    false, true, false)), (String ((Ascii (true, true, true, true, false,
-    true, true, false)), (String ((Ascii (false, false, true, false, false,
-    true, true, false)), (String ((Ascii (true, false, true, false, false,
-    true, true, false)),
-    EmptyString)))))))))))))))))))))))))))))))))))))))))))))))))))), (S (S (S
-    (S (S (S O)))))))) :: ((SAlpha ((String ((Ascii (false, false, true,
-    false, true, false, true, false)), (String ((Ascii (false, true, false,
-    false, true, true, true, false)), (String ((Ascii (true, false, false,
-    false, false, true, true, false)), (String ((Ascii (false, true, true,
-    true, false, true, true, false)), (String ((Ascii (true, true, false,
-    false, true, true, true, false)), (String ((Ascii (true, false, false,
-    false, false, true, true, false)), (String ((Ascii (true, true, false,
-    false, false, true, true, false)), (String ((Ascii (false, false, true,
-    false, true, true, true, false)), (String ((Ascii (true, false, false,
-    true, false, true, true, false)), (String ((Ascii (true, true, true,
-    true, false, true, true, false)), (String ((Ascii (false, true, true,
-    true, false, true, true, false)), (String ((Ascii (true, true, false,
-    false, true, false, true, false)), (String ((Ascii (true, false, true,
-    false, false, true, true, false)), (String ((Ascii (false, true, false,
-    false, true, true, true, false)), (String ((Ascii (true, false, false,
-    true, false, true, true, false)), (String ((Ascii (true, false, false,
-    false, false, true, true, false)), (String ((Ascii (false, false, true,
-    true, false, true, true, false)), (String ((Ascii (false, true, true,
-    true, false, false, true, false)), (String ((Ascii (true, false, true,
-    false, true, true, true, false)), (String ((Ascii (true, false, true,
-    true, false, true, true, false)), (String ((Ascii (false, true, false,
-    false, false, true, true, false)), (String ((Ascii (true, false, true,
-    false, false, true, true, false)), (String ((Ascii (false, true, false,
-    false, true, true, true, false)),
-    EmptyString)))))))))))))))))))))))))))))))))))))))))))))), (S (S (S (S (S
-    (S O)))))))) :: ((SAlpha ((String ((Ascii (false, false, true, false,
-    true, false, true, false)), (String ((Ascii (false, true, false, false,
-    true, true, true, false)), (String ((Ascii (true, false, false, false,
-    false, true, true, false)), (String ((Ascii (false, true, true, true,
-    false, true, true, false)), (String ((Ascii (true, true, false, false,
-    true, true, true, false)), (String ((Ascii (true, false, false, false,
-    false, true, true, false)), (String ((Ascii (true, true, false, false,
-    false, true, true, false)), (String ((Ascii (false, false, true, false,
-    true, true, true, false)), (String ((Ascii (true, false, false, true,
-    false, true, true, false)), (String ((Ascii (true, true, true, true,
-    false, true, true, false)), (String ((Ascii (false, true, true, true,
-    false, true, true, false)), (String ((Ascii (false, false, true, false,
-    false, false, true, false)), (String ((Ascii (true, false, false, false,
-    false, true, true, false)), (String ((Ascii (false, false, true, false,
-    true, true, true, false)), (String ((Ascii (true, false, true, false,
-    false, true, true, false)), EmptyString)))))))))))))))))))))))))))))), (S
-    (S (S (S O)))))) :: ((SAlpha ((String ((Ascii (true, false, false, false,
-    false, false, true, false)), (String ((Ascii (true, false, true, false,
-    true, true, true, false)), (String ((Ascii (false, false, true, false,
-    true, true, true, false)), (String ((Ascii (false, false, false, true,
-    false, true, true, false)), (String ((Ascii (true, true, true, true,
-    false, true, true, false)), (String ((Ascii (false, true, false, false,
-    true, true, true, false)), (String ((Ascii (true, false, false, true,
-    false, true, true, false)), (String ((Ascii (false, true, false, true,
-    true, true, true, false)), (String ((Ascii (true, false, false, false,
-    false, true, true, false)), (String ((Ascii (false, false, true, false,
-    true, true, true, false)), (String ((Ascii (true, false, false, true,
-    false, true, true, false)), (String ((Ascii (true, true, true, true,
-    false, true, true, false)), (String ((Ascii (false, true, true, true,
-    false, true, true, false)), (String ((Ascii (true, true, false, false,
-    false, false, true, false)), (String ((Ascii (true, true, true, true,
-    false, true, true, false)), (String ((Ascii (false, false, true, false,
-    false, true, true, false)), (String ((Ascii (true, false, true, false,
-    false, true, true, false)), (String ((Ascii (true, true, true, true,
-    false, false, true, false)), (String ((Ascii (false, true, false, false,
-    true, true, true, false)), (String ((Ascii (true, false, true, false,
-    false, false, true, false)), (String ((Ascii (false, false, false, true,
-    true, true, true, false)), (String ((Ascii (false, false, false, false,
-    true, true, true, false)), (String ((Ascii (true, false, false, true,
-    false, true, true, false)), (String ((Ascii (false, true, false, false,
-    true, true, true, false)), (String ((Ascii (true, false, true, false,
-    false, true, true, false)), (String ((Ascii (false, false, true, false,
-    false, false, true, false)), (String ((Ascii (true, false, false, false,
-    false, true, true, false)), (String ((Ascii (false, false, true, false,
-    true, true, true, false)), (String ((Ascii (true, false, true, false,
-    false, true, true, false)),
-    EmptyString)))))))))))))))))))))))))))))))))))))))))))))))))))))))))), (S
-    (S (S (S (S (S O)))))))) :: ((SAlpha ((String ((Ascii (false, false,
-    true, false, true, false, true, false)), (String ((Ascii (true, false,
-    true, false, false, true, true, false)), (String ((Ascii (false, true,
-    false, false, true, true, true, false)), (String ((Ascii (true, false,
-    true, true, false, true, true, false)), (String ((Ascii (true, false,
-    false, true, false, true, true, false)), (String ((Ascii (false, true,
-    true, true, false, true, true, false)), (String ((Ascii (true, false,
-    false, false, false, true, true, false)), (String ((Ascii (false, false,
-    true, true, false, true, true, false)), (String ((Ascii (false, false,
-    true, true, false, false, true, false)), (String ((Ascii (true, true,
-    true, true, false, true, true, false)), (String ((Ascii (true, true,
-    false, false, false, true, true, false)), (String ((Ascii (true, false,
-    false, false, false, true, true, false)), (String ((Ascii (false, false,
-    true, false, true, true, true, false)), (String ((Ascii (true, false,
-    false, true, false, true, true, false)), (String ((Ascii (true, true,
-    true, true, false, true, true, false)), (String ((Ascii (false, true,
-    true, true, false, true, true, false)),
-    EmptyString)))))))))))))))))))))))))))))))), (S (S (S (S (S (S (S (S (S
-    (S (S (S (S (S (S (S (S (S (S (S (S (S (S (S (S (S (S
-    O))))))))))))))))))))))))))))) :: ((SAlpha ((String ((Ascii (false,
-    false, true, false, true, false, true, false)), (String ((Ascii (true,
-    false, true, false, false, true, true, false)), (String ((Ascii (false,
-    true, false, false, true, true, true, false)), (String ((Ascii (true,
-    false, true, true, false, true, true, false)), (String ((Ascii (true,
-    false, false, true, false, true, true, false)), (String ((Ascii (false,
-    true, true, true, false, true, true, false)), (String ((Ascii (true,
-    false, false, false, false, true, true, false)), (String ((Ascii (false,
-    false, true, true, false, true, true, false)), (String ((Ascii (true,
-    true, false, false, false, false, true, false)), (String ((Ascii (true,
-    false, false, true, false, true, true, false)), (String ((Ascii (false,
-    false, true, false, true, true, true, false)), (String ((Ascii (true,
-    false, false, true, true, true, true, false)),
-    EmptyString)))))))))))))))))))))))), (S (S (S (S (S (S (S (S (S (S (S (S
-    (S (S (S O))))))))))))))))) :: ((SAlpha ((String ((Ascii (false, false,
-    true, false, true, false, true, false)), (String ((Ascii (true, false,
-    true, false, false, true, true, false)), (String ((Ascii (false, true,
-    false, false, true, true, true, false)), (String ((Ascii (true, false,
-    true, true, false, true, true, false)), (String ((Ascii (true, false,
-    false, true, false, true, true, false)), (String ((Ascii (false, true,
-    true, true, false, true, true, false)), (String ((Ascii (true, false,
-    false, false, false, true, true, false)), (String ((Ascii (false, false,
-    true, true, false, true, true, false)), (String ((Ascii (true, true,
-    false, false, true, false, true, false)), (String ((Ascii (false, false,
-    true, false, true, true, true, false)), (String ((Ascii (true, false,
-    false, false, false, true, true, false)), (String ((Ascii (false, false,
-    true, false, true, true, true, false)), (String ((Ascii (true, false,
-    true, false, false, true, true, false)),
-    EmptyString)))))))))))))))))))))))))), (S (S O)))) :: ((SStr ((String
-    ((Ascii (false, false, true, false, true, false, true, false)), (String
-    ((Ascii (false, true, false, false, true, true, true, false)), (String
-    ((Ascii (true, false, false, false, false, true, true, false)), (String
-    ((Ascii (true, true, false, false, false, true, true, false)), (String
-    ((Ascii (true, false, true, false, false, true, true, false)), (String
-    ((Ascii (false, true, true, true, false, false, true, false)), (String
-    ((Ascii (true, false, true, false, true, true, true, false)), (String
-    ((Ascii (true, false, true, true, false, true, true, false)), (String
-    ((Ascii (false, true, false, false, false, true, true, false)), (String
-    ((Ascii (true, false, true, false, false, true, true, false)), (String
-    ((Ascii (false, true, false, false, true, true, true, false)),
-    EmptyString)))))))))))))))))))))), (S (S (S (S (S (S (S (S (S (S (S (S (S
-    (S (S O))))))))))))))))) :: [])))))))))))); l_cuts =
-    ((mkcut O (S O) EmptyString []) :: ((mkcut (S O) (S (S (S O))) (String
-                                          ((Ascii (false, false, true, false,
-                                          true, false, true, false)), (String
-                                          ((Ascii (true, false, false, true,
-                                          true, true, true, false)), (String
-                                          ((Ascii (false, false, false,
-                                          false, true, true, true, false)),
-                                          (String ((Ascii (true, false, true,
-                                          false, false, true, true, false)),
-                                          (String ((Ascii (true, true, false,
-                                          false, false, false, true, false)),
-                                          (String ((Ascii (true, true, true,
-                                          true, false, true, true, false)),
-                                          (String ((Ascii (false, false,
-                                          true, false, false, true, true,
-                                          false)), (String ((Ascii (true,
-                                          false, true, false, false, true,
-                                          true, false)),
-                                          EmptyString)))))))))))))))) []) :: (
-    (mkcut (S (S (S O))) (S (S (S (S (S (S (S (S (S (S O)))))))))) (String
-      ((Ascii (false, true, false, false, true, false, true, false)), (String
-      ((Ascii (true, false, true, false, false, true, true, false)), (String
-      ((Ascii (false, true, true, false, false, true, true, false)), (String
-      ((Ascii (true, false, true, false, false, true, true, false)), (String
-      ((Ascii (false, true, false, false, true, true, true, false)), (String
-      ((Ascii (true, false, true, false, false, true, true, false)), (String
-      ((Ascii (false, true, true, true, false, true, true, false)), (String
-      ((Ascii (true, true, false, false, false, true, true, false)), (String
-      ((Ascii (true, false, true, false, false, true, true, false)), (String
-      ((Ascii (true, false, false, true, false, false, true, false)), (String
-      ((Ascii (false, true, true, true, false, true, true, false)), (String
-      ((Ascii (false, true, true, false, false, true, true, false)), (String
-      ((Ascii (true, true, true, true, false, true, true, false)), (String
-      ((Ascii (false, true, false, false, true, true, true, false)), (String
-      ((Ascii (true, false, true, true, false, true, true, false)), (String
-      ((Ascii (true, false, false, false, false, true, true, false)), (String
-      ((Ascii (false, false, true, false, true, true, true, false)), (String
-      ((Ascii (true, false, false, true, false, true, true, false)), (String
-      ((Ascii (true, true, true, true, false, true, true, false)), (String
-      ((Ascii (false, true, true, true, false, true, true, false)), (String
-      ((Ascii (true, true, true, true, false, false, true, false)), (String
-      ((Ascii (false, true, true, true, false, true, true, false)), (String
-      ((Ascii (true, false, true, false, false, true, true, false)),
-      EmptyString)))))))))))))))))))))))))))))))))))))))))))))) ((String
-      ((Ascii (true, true, false, false, true, true, true, false)), (String
-      ((Ascii (false, false, true, false, true, true, true, false)), (String
-      ((Ascii (false, true, false, false, true, true, true, false)), (String
-      ((Ascii (true, false, false, true, false, true, true, false)), (String
-      ((Ascii (false, true, true, true, false, true, true, false)), (String
-      ((Ascii (true, true, true, false, false, true, true, false)), (String
-      ((Ascii (true, true, false, false, true, true, true, false)), (String
-      ((Ascii (false, true, true, true, false, true, false, false)), (String
-      ((Ascii (false, false, true, false, true, false, true, false)), (String
-      ((Ascii (false, true, false, false, true, true, true, false)), (String
-      ((Ascii (true, false, false, true, false, true, true, false)), (String
-      ((Ascii (true, false, true, true, false, true, true, false)), (String
-      ((Ascii (true, true, false, false, true, false, true, false)), (String
-      ((Ascii (false, false, false, false, true, true, true, false)), (String
-      ((Ascii (true, false, false, false, false, true, true, false)), (String
-      ((Ascii (true, true, false, false, false, true, true, false)), (String
-      ((Ascii (true, false, true, false, false, true, true, false)),
-      EmptyString)))))))))))))))))))))))))))))))))) :: [])) :: ((mkcut (S (S
-                                                                  (S (S (S (S
-                                                                  (S (S (S (S
-                                                                  O))))))))))
-                                                                  (S (S (S (S
-                                                                  (S (S (S (S
-                                                                  (S (S (S (S
-                                                                  (S
-                                                                  O)))))))))))))
-                                                                  (String
-                                                                  ((Ascii
-                                                                  (false,
-                                                                  true,
-                                                                  false,
-                                                                  false,
-                                                                  true,
-                                                                  false,
-                                                                  true,
-                                                                  false)),
-                                                                  (String
-                                                                  ((Ascii
-                                                                  (true,
-                                                                  false,
-                                                                  true,
-                                                                  false,
-                                                                  false,
-                                                                  true, true,
-                                                                  false)),
-                                                                  (String
-                                                                  ((Ascii
-                                                                  (false,
-                                                                  true, true,
-                                                                  false,
-                                                                  false,
-                                                                  true, true,
-                                                                  false)),
-                                                                  (String
-                                                                  ((Ascii
-                                                                  (true,
-                                                                  false,
-                                                                  true,
-                                                                  false,
-                                                                  false,
-                                                                  true, true,
-                                                                  false)),
-                                                                  (String
-                                                                  ((Ascii
-                                                                  (false,
-                                                                  true,
-                                                                  false,
-                                                                  false,
-                                                                  true, true,
-                                                                  true,
-                                                                  false)),
-                                                                  (String
-                                                                  ((Ascii
-                                                                  (true,
-                                                                  false,
-                                                                  true,
-                                                                  false,
-                                                                  false,
-                                                                  true, true,
-                                                                  false)),
-                                                                  (String
-                                                                  ((Ascii
-                                                                  (false,
-                                                                  true, true,
-                                                                  true,
-                                                                  false,
-                                                                  true, true,
-                                                                  false)),
-                                                                  (String
-                                                                  ((Ascii
-                                                                  (true,
-                                                                  true,
-                                                                  false,
-                                                                  false,
-                                                                  false,
-                                                                  true, true,
-                                                                  false)),
-                                                                  (String
-                                                                  ((Ascii
-                                                                  (true,
-                                                                  false,
-                                                                  true,
-                                                                  false,
-                                                                  false,
-                                                                  true, true,
-                                                                  false)),
-                                                                  (String
-                                                                  ((Ascii
-                                                                  (true,
-                                                                  false,
-                                                                  false,
-                                                                  true,
-                                                                  false,
-                                                                  false,
-                                                                  true,
-                                                                  false)),
-                                                                  (String
-                                                                  ((Ascii
-                                                                  (false,
-                                                                  true, true,
-                                                                  true,
-                                                                  false,
-                                                                  true, true,
-                                                                  false)),
-                                                                  (String
-                                                                  ((Ascii
-                                                                  (false,
-                                                                  true, true,
-                                                                  false,
-                                                                  false,
-                                                                  true, true,
-                                                                  false)),
-                                                                  (String
-                                                                  ((Ascii
-                                                                  (true,
-                                                                  true, true,
-                                                                  true,
-                                                                  false,
-                                                                  true, true,
-                                                                  false)),
-                                                                  (String
-                                                                  ((Ascii
-                                                                  (false,
-                                                                  true,
-                                                                  false,
-                                                                  false,
-                                                                  true, true,
-                                                                  true,
-                                                                  false)),
-                                                                  (String
-                                                                  ((Ascii
-                                                                  (true,
-                                                                  false,
-                                                                  true, true,
-                                                                  false,
-                                                                  true, true,
-                                                                  false)),
-                                                                  (String
-                                                                  ((Ascii
-                                                                  (true,
-                                                                  false,
-                                                                  false,
-                                                                  false,
-                                                                  false,
-                                                                  true, true,
-                                                                  false)),
-                                                                  (String
-                                                                  ((Ascii
-                                                                  (false,
-                                                                  false,
-                                                                  true,
-                                                                  false,
-                                                                  true, true,
-                                                                  true,
-                                                                  false)),
-                                                                  (String
-                                                                  ((Ascii
-                                                                  (true,
-                                                                  false,
-                                                                  false,
-                                                                  true,
-                                                                  false,
-                                                                  true, true,
-                                                                  false)),
-                                                                  (String
-                                                                  ((Ascii
-                                                                  (true,
-                                                                  true, true,
-                                                                  true,
-                                                                  false,
-                                                                  true, true,
-                                                                  false)),
-                                                                  (String
-                                                                  ((Ascii
-                                                                  (false,
-                                                                  true, true,
-                                                                  true,
-                                                                  false,
-                                                                  true, true,
-                                                                  false)),
-                                                                  (String
-                                                                  ((Ascii
-                                                                  (false,
-                                                                  false,
-                                                                  true,
-                                                                  false,
-                                                                  true,
-                                                                  false,
-                                                                  true,
-                                                                  false)),
-                                                                  (String
-                                                                  ((Ascii
-                                                                  (true,
-                                                                  true, true,
-                                                                  false,
-                                                                  true, true,
-                                                                  true,
-                                                                  false)),
-                                                                  (String
-                                                                  ((Ascii
-                                                                  (true,
-                                                                  true, true,
-                                                                  true,
-                                                                  false,
-                                                                  true, true,
-                                                                  false)),
-                                                                  EmptyString))))))))))))))))))))))))))))))))))))))))))))))
-                                                                  ((String
-                                                                  ((Ascii
-                                                                  (true,
-                                                                  true,
-                                                                  false,
-                                                                  false,
-                                                                  true, true,
-                                                                  true,
-                                                                  false)),
-                                                                  (String
-                                                                  ((Ascii
-                                                                  (false,
-                                                                  false,
-                                                                  true,
-                                                                  false,
-                                                                  true, true,
-                                                                  true,
-                                                                  false)),
-                                                                  (String
-                                                                  ((Ascii
-                                                                  (false,
-                                                                  true,
-                                                                  false,
-                                                                  false,
-                                                                  true, true,
-                                                                  true,
-                                                                  false)),
-                                                                  (String
-                                                                  ((Ascii
-                                                                  (true,
-                                                                  false,
-                                                                  false,
-                                                                  true,
-                                                                  false,
-                                                                  true, true,
-                                                                  false)),
-                                                                  (String
-                                                                  ((Ascii
-                                                                  (false,
-                                                                  true, true,
-                                                                  true,
-                                                                  false,
-                                                                  true, true,
-                                                                  false)),
-                                                                  (String
-                                                                  ((Ascii
-                                                                  (true,
-                                                                  true, true,
-                                                                  false,
-                                                                  false,
-                                                                  true, true,
-                                                                  false)),
-                                                                  (String
-                                                                  ((Ascii
-                                                                  (true,
-                                                                  true,
-                                                                  false,
-                                                                  false,
-                                                                  true, true,
-                                                                  true,
-                                                                  false)),
-                                                                  (String
-                                                                  ((Ascii
-                                                                  (false,
-                                                                  true, true,
-                                                                  true,
-                                                                  false,
-                                                                  true,
-                                                                  false,
-                                                                  false)),
-                                                                  (String
-                                                                  ((Ascii
-                                                                  (false,
-                                                                  false,
-                                                                  true,
-                                                                  false,
-                                                                  true,
-                                                                  false,
-                                                                  true,
-                                                                  false)),
-                                                                  (String
-                                                                  ((Ascii
-                                                                  (false,
-                                                                  true,
-                                                                  false,
-                                                                  false,
-                                                                  true, true,
-                                                                  true,
-                                                                  false)),
-                                                                  (String
-                                                                  ((Ascii
-                                                                  (true,
-                                                                  false,
-                                                                  false,
-                                                                  true,
-                                                                  false,
-                                                                  true, true,
-                                                                  false)),
-                                                                  (String
-                                                                  ((Ascii
-                                                                  (true,
-                                                                  false,
-                                                                  true, true,
-                                                                  false,
-                                                                  true, true,
-                                                                  false)),
-                                                                  (String
-                                                                  ((Ascii
-                                                                  (true,
-                                                                  true,
-                                                                  false,
-                                                                  false,
-                                                                  true,
-                                                                  false,
-                                                                  true,
-                                                                  false)),
-                                                                  (String
-                                                                  ((Ascii
-                                                                  (false,
-                                                                  false,
-                                                                  false,
-                                                                  false,
-                                                                  true, true,
-                                                                  true,
-                                                                  false)),
-                                                                  (String
-                                                                  ((Ascii
-                                                                  (true,
-                                                                  false,
-                                                                  false,
-                                                                  false,
-                                                                  false,
-                                                                  true, true,
-                                                                  false)),
-                                                                  (String
-                                                                  ((Ascii
-                                                                  (true,
-                                                                  true,
-                                                                  false,
-                                                                  false,
-                                                                  false,
-                                                                  true, true,
-                                                                  false)),
-                                                                  (String
-                                                                  ((Ascii
-                                                                  (true,
-                                                                  false,
-                                                                  true,
-                                                                  false,
-                                                                  false,
-                                                                  true, true,
-                                                                  false)),
-                                                                  EmptyString)))))))))))))))))))))))))))))))))) :: [])) :: (
-    (mkcut (S (S (S (S (S (S (S (S (S (S (S (S (S O))))))))))))) (S (S (S (S
-      (S (S (S (S (S (S (S (S (S (S (S (S (S (S (S O)))))))))))))))))))
-      (String ((Ascii (false, false, true, false, true, false, true, false)),
-      (String ((Ascii (true, false, true, false, false, true, true, false)),
-      (String ((Ascii (false, true, false, false, true, true, true, false)),
-      (String ((Ascii (true, false, true, true, false, true, true, false)),
-      (String ((Ascii (true, false, false, true, false, true, true, false)),
-      (String ((Ascii (false, true, true, true, false, true, true, false)),
-      (String ((Ascii (true, false, false, false, false, true, true, false)),
-      (String ((Ascii (false, false, true, true, false, true, true, false)),
-      (String ((Ascii (true, false, false, true, false, false, true, false)),
-      (String ((Ascii (false, false, true, false, false, true, true, false)),
-      (String ((Ascii (true, false, true, false, false, true, true, false)),
-      (String ((Ascii (false, true, true, true, false, true, true, false)),
-      (String ((Ascii (false, false, true, false, true, true, true, false)),
-      (String ((Ascii (true, false, false, true, false, true, true, false)),
-      (String ((Ascii (false, true, true, false, false, true, true, false)),
-      (String ((Ascii (true, false, false, true, false, true, true, false)),
-      (String ((Ascii (true, true, false, false, false, true, true, false)),
-      (String ((Ascii (true, false, false, false, false, true, true, false)),
-      (String ((Ascii (false, false, true, false, true, true, true, false)),
-      (String ((Ascii (true, false, false, true, false, true, true, false)),
-      (String ((Ascii (true, true, true, true, false, true, true, false)),
-      (String ((Ascii (false, true, true, true, false, true, true, false)),
-      (String ((Ascii (true, true, false, false, false, false, true, false)),
-      (String ((Ascii (true, true, true, true, false, true, true, false)),
-      (String ((Ascii (false, false, true, false, false, true, true, false)),
-      (String ((Ascii (true, false, true, false, false, true, true, false)),
-      EmptyString))))))))))))))))))))))))))))))))))))))))))))))))))))
-      ((String ((Ascii (true, true, false, false, true, true, true, false)),
-      (String ((Ascii (false, false, true, false, true, true, true, false)),
-      (String ((Ascii (false, true, false, false, true, true, true, false)),
-      (String ((Ascii (true, false, false, true, false, true, true, false)),
-      (String ((Ascii (false, true, true, true, false, true, true, false)),
-      (String ((Ascii (true, true, true, false, false, true, true, false)),
-      (String ((Ascii (true, true, false, false, true, true, true, false)),
-      (String ((Ascii (false, true, true, true, false, true, false, false)),
-      (String ((Ascii (false, false, true, false, true, false, true, false)),
-      (String ((Ascii (false, true, false, false, true, true, true, false)),
-      (String ((Ascii (true, false, false, true, false, true, true, false)),
-      (String ((Ascii (true, false, true, true, false, true, true, false)),
-      (String ((Ascii (true, true, false, false, true, false, true, false)),
-      (String ((Ascii (false, false, false, false, true, true, true, false)),
-      (String ((Ascii (true, false, false, false, false, true, true, false)),
-      (String ((Ascii (true, true, false, false, false, true, true, false)),
-      (String ((Ascii (true, false, true, false, false, true, true, false)),
-      EmptyString)))))))))))))))))))))))))))))))))) :: [])) :: ((mkcut (S (S
-                                                                  (S (S (S (S
-                                                                  (S (S (S (S
-                                                                  (S (S (S (S
-                                                                  (S (S (S (S
-                                                                  (S
-                                                                  O)))))))))))))))))))
-                                                                  (S (S (S (S
-                                                                  (S (S (S (S
-                                                                  (S (S (S (S
-                                                                  (S (S (S (S
-                                                                  (S (S (S (S
-                                                                  (S (S (S (S
-                                                                  (S
-                                                                  O)))))))))))))))))))))))))
-                                                                  (String
-                                                                  ((Ascii
-                                                                  (false,
-                                                                  false,
-                                                                  true,
-                                                                  false,
-                                                                  true,
-                                                                  false,
-                                                                  true,
-                                                                  false)),
-                                                                  (String
-                                                                  ((Ascii
-                                                                  (false,
-                                                                  true,
-                                                                  false,
-                                                                  false,
-                                                                  true, true,
-                                                                  true,
-                                                                  false)),
-                                                                  (String
-                                                                  ((Ascii
-                                                                  (true,
-                                                                  false,
-                                                                  false,
-                                                                  false,
-                                                                  false,
-                                                                  true, true,
-                                                                  false)),
-                                                                  (String
-                                                                  ((Ascii
-                                                                  (false,
-                                                                  true, true,
-                                                                  true,
-                                                                  false,
-                                                                  true, true,
-                                                                  false)),
-                                                                  (String
-                                                                  ((Ascii
-                                                                  (true,
-                                                                  true,
-                                                                  false,
-                                                                  false,
-                                                                  true, true,
-                                                                  true,
-                                                                  false)),
-                                                                  (String
-                                                                  ((Ascii
-                                                                  (true,
-                                                                  false,
-                                                                  false,
-                                                                  false,
-                                                                  false,
-                                                                  true, true,
-                                                                  false)),
-                                                                  (String
-                                                                  ((Ascii
-                                                                  (true,
-                                                                  true,
-                                                                  false,
-                                                                  false,
-                                                                  false,
-                                                                  true, true,
-                                                                  false)),
-                                                                  (String
-                                                                  ((Ascii
-                                                                  (false,
-                                                                  false,
-                                                                  true,
-                                                                  false,
-                                                                  true, true,
-                                                                  true,
-                                                                  false)),
-                                                                  (String
-                                                                  ((Ascii
-                                                                  (true,
-                                                                  false,
-                                                                  false,
-                                                                  true,
-                                                                  false,
-                                                                  true, true,
-                                                                  false)),
-                                                                  (String
-                                                                  ((Ascii
-                                                                  (true,
-                                                                  true, true,
-                                                                  true,
-                                                                  false,
-                                                                  true, true,
-                                                                  false)),
-                                                                  (String
-                                                                  ((Ascii
-                                                                  (false,
-                                                                  true, true,
-                                                                  true,
-                                                                  false,
-                                                                  true, true,
-                                                                  false)),
-                                                                  (String
-                                                                  ((Ascii
-                                                                  (true,
-                                                                  true,
-                                                                  false,
-                                                                  false,
-                                                                  true,
-                                                                  false,
-                                                                  true,
-                                                                  false)),
-                                                                  (String
-                                                                  ((Ascii
-                                                                  (true,
-                                                                  false,
-                                                                  true,
-                                                                  false,
-                                                                  false,
-                                                                  true, true,
-                                                                  false)),
-                                                                  (String
-                                                                  ((Ascii
-                                                                  (false,
-                                                                  true,
-                                                                  false,
-                                                                  false,
-                                                                  true, true,
-                                                                  true,
-                                                                  false)),
-                                                                  (String
-                                                                  ((Ascii
-                                                                  (true,
-                                                                  false,
-                                                                  false,
-                                                                  true,
-                                                                  false,
-                                                                  true, true,
-                                                                  false)),
-                                                                  (String
-                                                                  ((Ascii
-                                                                  (true,
-                                                                  false,
-                                                                  false,
-                                                                  false,
-                                                                  false,
-                                                                  true, true,
-                                                                  false)),
-                                                                  (String
-                                                                  ((Ascii
-                                                                  (false,
-                                                                  false,
-                                                                  true, true,
-                                                                  false,
-                                                                  true, true,
-                                                                  false)),
-                                                                  (String
-                                                                  ((Ascii
-                                                                  (false,
-                                                                  true, true,
-                                                                  true,
-                                                                  false,
-                                                                  false,
-                                                                  true,
-                                                                  false)),
-                                                                  (String
-                                                                  ((Ascii
-                                                                  (true,
-                                                                  false,
-                                                                  true,
-                                                                  false,
-                                                                  true, true,
-                                                                  true,
-                                                                  false)),
-                                                                  (String
-                                                                  ((Ascii
-                                                                  (true,
-                                                                  false,
-                                                                  true, true,
-                                                                  false,
-                                                                  true, true,
-                                                                  false)),
-                                                                  (String
-                                                                  ((Ascii
-                                                                  (false,
-                                                                  true,
-                                                                  false,
-                                                                  false,
-                                                                  false,
-                                                                  true, true,
-                                                                  false)),
-                                                                  (String
-                                                                  ((Ascii
-                                                                  (true,
-                                                                  false,
-                                                                  true,
-                                                                  false,
-                                                                  false,
-                                                                  true, true,
-                                                                  false)),
-                                                                  (String
-                                                                  ((Ascii
-                                                                  (false,
-                                                                  true,
-                                                                  false,
-                                                                  false,
-                                                                  true, true,
-                                                                  true,
-                                                                  false)),
-                                                                  EmptyString))))))))))))))))))))))))))))))))))))))))))))))
-                                                                  ((String
-                                                                  ((Ascii
-                                                                  (true,
-                                                                  true,
-                                                                  false,
-                                                                  false,
-                                                                  true, true,
-                                                                  true,
-                                                                  false)),
-                                                                  (String
-                                                                  ((Ascii
-                                                                  (false,
-                                                                  false,
-                                                                  true,
-                                                                  false,
-                                                                  true, true,
-                                                                  true,
-                                                                  false)),
-                                                                  (String
-                                                                  ((Ascii
-                                                                  (false,
-                                                                  true,
-                                                                  false,
-                                                                  false,
-                                                                  true, true,
-                                                                  true,
-                                                                  false)),
-                                                                  (String
-                                                                  ((Ascii
-                                                                  (true,
-                                                                  false,
-                                                                  false,
-                                                                  true,
-                                                                  false,
-                                                                  true, true,
-                                                                  false)),
-                                                                  (String
-                                                                  ((Ascii
-                                                                  (false,
-                                                                  true, true,
-                                                                  true,
-                                                                  false,
-                                                                  true, true,
-                                                                  false)),
-                                                                  (String
-                                                                  ((Ascii
-                                                                  (true,
-                                                                  true, true,
-                                                                  false,
-                                                                  false,
-                                                                  true, true,
-                                                                  false)),
-                                                                  (String
-                                                                  ((Ascii
-                                                                  (true,
-                                                                  true,
-                                                                  false,
-                                                                  false,
-                                                                  true, true,
-                                                                  true,
-                                                                  false)),
-                                                                  (String
-                                                                  ((Ascii
-                                                                  (false,
-                                                                  true, true,
-                                                                  true,
-                                                                  false,
-                                                                  true,
-                                                                  false,
-                                                                  false)),
-                                                                  (String
-                                                                  ((Ascii
-                                                                  (false,
-                                                                  false,
-                                                                  true,
-                                                                  false,
-                                                                  true,
-                                                                  false,
-                                                                  true,
-                                                                  false)),
-                                                                  (String
-                                                                  ((Ascii
-                                                                  (false,
-                                                                  true,
-                                                                  false,
-                                                                  false,
-                                                                  true, true,
-                                                                  true,
-                                                                  false)),
-                                                                  (String
-                                                                  ((Ascii
-                                                                  (true,
-                                                                  false,
-                                                                  false,
-                                                                  true,
-                                                                  false,
-                                                                  true, true,
-                                                                  false)),
-                                                                  (String
-                                                                  ((Ascii
-                                                                  (true,
-                                                                  false,
-                                                                  true, true,
-                                                                  false,
-                                                                  true, true,
-                                                                  false)),
-                                                                  (String
-                                                                  ((Ascii
-                                                                  (true,
-                                                                  true,
-                                                                  false,
-                                                                  false,
-                                                                  true,
-                                                                  false,
-                                                                  true,
-                                                                  false)),
-                                                                  (String
-                                                                  ((Ascii
-                                                                  (false,
-                                                                  false,
-                                                                  false,
-                                                                  false,
-                                                                  true, true,
-                                                                  true,
-                                                                  false)),
-                                                                  (String
-                                                                  ((Ascii
-                                                                  (true,
-                                                                  false,
-                                                                  false,
-                                                                  false,
-                                                                  false,
-                                                                  true, true,
-                                                                  false)),
-                                                                  (String
-                                                                  ((Ascii
-                                                                  (true,
-                                                                  true,
-                                                                  false,
-                                                                  false,
-                                                                  false,
-                                                                  true, true,
-                                                                  false)),
-                                                                  (String
-                                                                  ((Ascii
-                                                                  (true,
-                                                                  false,
-                                                                  true,
-                                                                  false,
-                                                                  false,
-                                                                  true, true,
-                                                                  false)),
-                                                                  EmptyString)))))))))))))))))))))))))))))))))) :: [])) :: (
-    (mkcut (S (S (S (S (S (S (S (S (S (S (S (S (S (S (S (S (S (S (S (S (S (S
-      (S (S (S O))))))))))))))))))))))))) (S (S (S (S (S (S (S (S (S (S (S (S
-      (S (S (S (S (S (S (S (S (S (S (S (S (S (S (S (S (S
-      O))))))))))))))))))))))))))))) (String ((Ascii (false, false, true,
-      false, true, false, true, false)), (String ((Ascii (false, true, false,
-      false, true, true, true, false)), (String ((Ascii (true, false, false,
-      false, false, true, true, false)), (String ((Ascii (false, true, true,
-      true, false, true, true, false)), (String ((Ascii (true, true, false,
-      false, true, true, true, false)), (String ((Ascii (true, false, false,
-      false, false, true, true, false)), (String ((Ascii (true, true, false,
-      false, false, true, true, false)), (String ((Ascii (false, false, true,
-      false, true, true, true, false)), (String ((Ascii (true, false, false,
-      true, false, true, true, false)), (String ((Ascii (true, true, true,
-      true, false, true, true, false)), (String ((Ascii (false, true, true,
-      true, false, true, true, false)), (String ((Ascii (false, false, true,
-      false, false, false, true, false)), (String ((Ascii (true, false,
-      false, false, false, true, true, false)), (String ((Ascii (false,
-      false, true, false, true, true, true, false)), (String ((Ascii (true,
-      false, true, false, false, true, true, false)),
-      EmptyString)))))))))))))))))))))))))))))) ((String ((Ascii (true, true,
-      false, false, true, true, true, false)), (String ((Ascii (false, false,
-      true, false, true, true, true, false)), (String ((Ascii (false, true,
-      false, false, true, true, true, false)), (String ((Ascii (true, false,
-      false, true, false, true, true, false)), (String ((Ascii (false, true,
-      true, true, false, true, true, false)), (String ((Ascii (true, true,
-      true, false, false, true, true, false)), (String ((Ascii (true, true,
-      false, false, true, true, true, false)), (String ((Ascii (false, true,
-      true, true, false, true, false, false)), (String ((Ascii (false, false,
-      true, false, true, false, true, false)), (String ((Ascii (false, true,
-      false, false, true, true, true, false)), (String ((Ascii (true, false,
-      false, true, false, true, true, false)), (String ((Ascii (true, false,
-      true, true, false, true, true, false)), (String ((Ascii (true, true,
-      false, false, true, false, true, false)), (String ((Ascii (false,
-      false, false, false, true, true, true, false)), (String ((Ascii (true,
-      false, false, false, false, true, true, false)), (String ((Ascii (true,
-      true, false, false, false, true, true, false)), (String ((Ascii (true,
-      false, true, false, false, true, true, false)),
-      EmptyString)))))))))))))))))))))))))))))))))) :: [])) :: ((mkcut (S (S
-                                                                  (S (S (S (S
-                                                                  (S (S (S (S
-                                                                  (S (S (S (S
-                                                                  (S (S (S (S
-                                                                  (S (S (S (S
-                                                                  (S (S (S (S
-                                                                  (S (S (S
-                                                                  O)))))))))))))))))))))))))))))
-                                                                  (S (S (S (S
-                                                                  (S (S (S (S
-                                                                  (S (S (S (S
-                                                                  (S (S (S (S
-                                                                  (S (S (S (S
-                                                                  (S (S (S (S
-                                                                  (S (S (S (S
-                                                                  (S (S (S (S
-                                                                  (S (S (S
-                                                                  O)))))))))))))))))))))))))))))))))))
-                                                                  (String
-                                                                  ((Ascii
-                                                                  (true,
-                                                                  false,
-                                                                  false,
-                                                                  false,
-                                                                  false,
-                                                                  false,
-                                                                  true,
-                                                                  false)),
-                                                                  (String
-                                                                  ((Ascii
-                                                                  (true,
-                                                                  false,
-                                                                  true,
-                                                                  false,
-                                                                  true, true,
-                                                                  true,
-                                                                  false)),
-                                                                  (String
-                                                                  ((Ascii
-                                                                  (false,
-                                                                  false,
-                                                                  true,
-                                                                  false,
-                                                                  true, true,
-                                                                  true,
-                                                                  false)),
-                                                                  (String
-                                                                  ((Ascii
-                                                                  (false,
-                                                                  false,
-                                                                  false,
-                                                                  true,
-                                                                  false,
-                                                                  true, true,
-                                                                  false)),
-                                                                  (String
-                                                                  ((Ascii
-                                                                  (true,
-                                                                  true, true,
-                                                                  true,
-                                                                  false,
-                                                                  true, true,
-                                                                  false)),
-                                                                  (String
-                                                                  ((Ascii
-                                                                  (false,
-                                                                  true,
-                                                                  false,
-                                                                  false,
-                                                                  true, true,
-                                                                  true,
-                                                                  false)),
-                                                                  (String
-                                                                  ((Ascii
-                                                                  (true,
-                                                                  false,
-                                                                  false,
-                                                                  true,
-                                                                  false,
-                                                                  true, true,
-                                                                  false)),
-                                                                  (String
-                                                                  ((Ascii
-                                                                  (false,
-                                                                  true,
-                                                                  false,
-                                                                  true, true,
-                                                                  true, true,
-                                                                  false)),
-                                                                  (String
-                                                                  ((Ascii
-                                                                  (true,
-                                                                  false,
-                                                                  false,
-                                                                  false,
-                                                                  false,
-                                                                  true, true,
-                                                                  false)),
-                                                                  (String
-                                                                  ((Ascii
-                                                                  (false,
-                                                                  false,
-                                                                  true,
-                                                                  false,
-                                                                  true, true,
-                                                                  true,
-                                                                  false)),
-                                                                  (String
-                                                                  ((Ascii
-                                                                  (true,
-                                                                  false,
-                                                                  false,
-                                                                  true,
-                                                                  false,
-                                                                  true, true,
-                                                                  false)),
-                                                                  (String
-                                                                  ((Ascii
-                                                                  (true,
-                                                                  true, true,
-                                                                  true,
-                                                                  false,
-                                                                  true, true,
-                                                                  false)),
-                                                                  (String
-                                                                  ((Ascii
-                                                                  (false,
-                                                                  true, true,
-                                                                  true,
-                                                                  false,
-                                                                  true, true,
-                                                                  false)),
-                                                                  (String
-                                                                  ((Ascii
-                                                                  (true,
-                                                                  true,
-                                                                  false,
-                                                                  false,
-                                                                  false,
-                                                                  false,
-                                                                  true,
-                                                                  false)),
-                                                                  (String
-                                                                  ((Ascii
-                                                                  (true,
-                                                                  true, true,
-                                                                  true,
-                                                                  false,
-                                                                  true, true,
-                                                                  false)),
-                                                                  (String
-                                                                  ((Ascii
-                                                                  (false,
-                                                                  false,
-                                                                  true,
-                                                                  false,
-                                                                  false,
-                                                                  true, true,
-                                                                  false)),
-                                                                  (String
-                                                                  ((Ascii
-                                                                  (true,
-                                                                  false,
-                                                                  true,
-                                                                  false,
-                                                                  false,
-                                                                  true, true,
-                                                                  false)),
-                                                                  (String
-                                                                  ((Ascii
-                                                                  (true,
-                                                                  true, true,
-                                                                  true,
-                                                                  false,
-                                                                  false,
-                                                                  true,
-                                                                  false)),
-                                                                  (String
-                                                                  ((Ascii
-                                                                  (false,
-                                                                  true,
-                                                                  false,
-                                                                  false,
-                                                                  true, true,
-                                                                  true,
-                                                                  false)),
-                                                                  (String
-                                                                  ((Ascii
-                                                                  (true,
-                                                                  false,
-                                                                  true,
-                                                                  false,
-                                                                  false,
-                                                                  false,
-                                                                  true,
-                                                                  false)),
-                                                                  (String
-                                                                  ((Ascii
-                                                                  (false,
-                                                                  false,
-                                                                  false,
-                                                                  true, true,
-                                                                  true, true,
-                                                                  false)),
-                                                                  (String
-                                                                  ((Ascii
-                                                                  (false,
-                                                                  false,
-                                                                  false,
-                                                                  false,
-                                                                  true, true,
-                                                                  true,
-                                                                  false)),
-                                                                  (String
-                                                                  ((Ascii
-                                                                  (true,
-                                                                  false,
-                                                                  false,
-                                                                  true,
-                                                                  false,
-                                                                  true, true,
-                                                                  false)),
-                                                                  (String
-                                                                  ((Ascii
-                                                                  (false,
-                                                                  true,
-                                                                  false,
-                                                                  false,
-                                                                  true, true,
-                                                                  true,
-                                                                  false)),
-                                                                  (String
-                                                                  ((Ascii
-                                                                  (true,
-                                                                  false,
-                                                                  true,
-                                                                  false,
-                                                                  false,
-                                                                  true, true,
-                                                                  false)),
-                                                                  (String
-                                                                  ((Ascii
-                                                                  (false,
-                                                                  false,
-                                                                  true,
-                                                                  false,
-                                                                  false,
-                                                                  false,
-                                                                  true,
-                                                                  false)),
-                                                                  (String
-                                                                  ((Ascii
-                                                                  (true,
-                                                                  false,
-                                                                  false,
-                                                                  false,
-                                                                  false,
-                                                                  true, true,
-                                                                  false)),
-                                                                  (String
-                                                                  ((Ascii
-                                                                  (false,
-                                                                  false,
-                                                                  true,
-                                                                  false,
-                                                                  true, true,
-                                                                  true,
-                                                                  false)),
-                                                                  (String
-                                                                  ((Ascii
-                                                                  (true,
-                                                                  false,
-                                                                  true,
-                                                                  false,
-                                                                  false,
-                                                                  true, true,
-                                                                  false)),
-                                                                  EmptyString))))))))))))))))))))))))))))))))))))))))))))))))))))))))))
-                                                                  ((String
-                                                                  ((Ascii
-                                                                  (true,
-                                                                  true,
-                                                                  false,
-                                                                  false,
-                                                                  true, true,
-                                                                  true,
-                                                                  false)),
-                                                                  (String
-                                                                  ((Ascii
-                                                                  (false,
-                                                                  false,
-                                                                  true,
-                                                                  false,
-                                                                  true, true,
-                                                                  true,
-                                                                  false)),
-                                                                  (String
-                                                                  ((Ascii
-                                                                  (false,
-                                                                  true,
-                                                                  false,
-                                                                  false,
-                                                                  true, true,
-                                                                  true,
-                                                                  false)),
-                                                                  (String
-                                                                  ((Ascii
-                                                                  (true,
-                                                                  false,
-                                                                  false,
-                                                                  true,
-                                                                  false,
-                                                                  true, true,
-                                                                  false)),
-                                                                  (String
-                                                                  ((Ascii
-                                                                  (false,
-                                                                  true, true,
-                                                                  true,
-                                                                  false,
-                                                                  true, true,
-                                                                  false)),
-                                                                  (String
-                                                                  ((Ascii
-                                                                  (true,
-                                                                  true, true,
-                                                                  false,
-                                                                  false,
-                                                                  true, true,
-                                                                  false)),
-                                                                  (String
-                                                                  ((Ascii
-                                                                  (true,
-                                                                  true,
-                                                                  false,
-                                                                  false,
-                                                                  true, true,
-                                                                  true,
-                                                                  false)),
-                                                                  (String
-                                                                  ((Ascii
-                                                                  (false,
-                                                                  true, true,
-                                                                  true,
-                                                                  false,
-                                                                  true,
-                                                                  false,
-                                                                  false)),
-                                                                  (String
-                                                                  ((Ascii
-                                                                  (false,
-                                                                  false,
-                                                                  true,
-                                                                  false,
-                                                                  true,
-                                                                  false,
-                                                                  true,
-                                                                  false)),
-                                                                  (String
-                                                                  ((Ascii
-                                                                  (false,
-                                                                  true,
-                                                                  false,
-                                                                  false,
-                                                                  true, true,
-                                                                  true,
-                                                                  false)),
-                                                                  (String
-                                                                  ((Ascii
-                                                                  (true,
-                                                                  false,
-                                                                  false,
-                                                                  true,
-                                                                  false,
-                                                                  true, true,
-                                                                  false)),
-                                                                  (String
-                                                                  ((Ascii
-                                                                  (true,
-                                                                  false,
-                                                                  true, true,
-                                                                  false,
-                                                                  true, true,
-                                                                  false)),
-                                                                  (String
-                                                                  ((Ascii
-                                                                  (true,
-                                                                  true,
-                                                                  false,
-                                                                  false,
-                                                                  true,
-                                                                  false,
-                                                                  true,
-                                                                  false)),
-                                                                  (String
-                                                                  ((Ascii
-                                                                  (false,
-                                                                  false,
-                                                                  false,
-                                                                  false,
-                                                                  true, true,
-                                                                  true,
-                                                                  false)),
-                                                                  (String
-                                                                  ((Ascii
-                                                                  (true,
-                                                                  false,
-                                                                  false,
-                                                                  false,
-                                                                  false,
-                                                                  true, true,
-                                                                  false)),
-                                                                  (String
-                                                                  ((Ascii
-                                                                  (true,
-                                                                  true,
-                                                                  false,
-                                                                  false,
-                                                                  false,
-                                                                  true, true,
-                                                                  false)),
-                                                                  (String
-                                                                  ((Ascii
-                                                                  (true,
-                                                                  false,
-                                                                  true,
-                                                                  false,
-                                                                  false,
-                                                                  true, true,
-                                                                  false)),
-                                                                  EmptyString)))))))))))))))))))))))))))))))))) :: [])) :: (
-    (mkcut (S (S (S (S (S (S (S (S (S (S (S (S (S (S (S (S (S (S (S (S (S (S
-      (S (S (S (S (S (S (S (S (S (S (S (S (S
-      O))))))))))))))))))))))))))))))))))) (S (S (S (S (S (S (S (S (S (S (S
-      (S (S (S (S (S (S (S (S (S (S (S (S (S (S (S (S (S (S (S (S (S (S (S (S
-      (S (S (S (S (S (S (S (S (S (S (S (S (S (S (S (S (S (S (S (S (S (S (S (S
-      (S (S (S
-      O)))))))))))))))))))))))))))))))))))))))))))))))))))))))))))))) (String
-      ((Ascii (false, false, true, false, true, false, true, false)), (String
-      ((Ascii (true, false, true, false, false, true, true, false)), (String
-      ((Ascii (false, true, false, false, true, true, true, false)), (String
-      ((Ascii (true, false, true, true, false, true, true, false)), (String
-      ((Ascii (true, false, false, true, false, true, true, false)), (String
-      ((Ascii (false, true, true, true, false, true, true, false)), (String
-      ((Ascii (true, false, false, false, false, true, true, false)), (String
-      ((Ascii (false, false, true, true, false, true, true, false)), (String
-      ((Ascii (false, false, true, true, false, false, true, false)), (String
-      ((Ascii (true, true, true, true, false, true, true, false)), (String
-      ((Ascii (true, true, false, false, false, true, true, false)), (String
-      ((Ascii (true, false, false, false, false, true, true, false)), (String
-      ((Ascii (false, false, true, false, true, true, true, false)), (String
-      ((Ascii (true, false, false, true, false, true, true, false)), (String
-      ((Ascii (true, true, true, true, false, true, true, false)), (String
-      ((Ascii (false, true, true, true, false, true, true, false)),
-      EmptyString)))))))))))))))))))))))))))))))) ((String ((Ascii (true,
-      true, false, false, true, true, true, false)), (String ((Ascii (false,
-      false, true, false, true, true, true, false)), (String ((Ascii (false,
-      true, false, false, true, true, true, false)), (String ((Ascii (true,
-      false, false, true, false, true, true, false)), (String ((Ascii (false,
-      true, true, true, false, true, true, false)), (String ((Ascii (true,
-      true, true, false, false, true, true, false)), (String ((Ascii (true,
-      true, false, false, true, true, true, false)), (String ((Ascii (false,
-      true, true, true, false, true, false, false)), (String ((Ascii (false,
-      false, true, false, true, false, true, false)), (String ((Ascii (false,
-      true, false, false, true, true, true, false)), (String ((Ascii (true,
-      false, false, true, false, true, true, false)), (String ((Ascii (true,
-      false, true, true, false, true, true, false)), (String ((Ascii (true,
-      true, false, false, true, false, true, false)), (String ((Ascii (false,
-      false, false, false, true, true, true, false)), (String ((Ascii (true,
-      false, false, false, false, true, true, false)), (String ((Ascii (true,
-      true, false, false, false, true, true, false)), (String ((Ascii (true,
-      false, true, false, false, true, true, false)),
-      EmptyString)))))))))))))))))))))))))))))))))) :: [])) :: ((mkcut (S (S
-                                                                  (S (S (S (S
-                                                                  (S (S (S (S
-                                                                  (S (S (S (S
-                                                                  (S (S (S (S
-                                                                  (S (S (S (S
-                                                                  (S (S (S (S
-                                                                  (S (S (S (S
-                                                                  (S (S (S (S
-                                                                  (S (S (S (S
-                                                                  (S (S (S (S
-                                                                  (S (S (S (S
-                                                                  (S (S (S (S
-                                                                  (S (S (S (S
-                                                                  (S (S (S (S
-                                                                  (S (S (S (S
-                                                                  O))))))))))))))))))))))))))))))))))))))))))))))))))))))))))))))
-                                                                  (S (S (S (S
-                                                                  (S (S (S (S
-                                                                  (S (S (S (S
-                                                                  (S (S (S (S
-                                                                  (S (S (S (S
-                                                                  (S (S (S (S
-                                                                  (S (S (S (S
-                                                                  (S (S (S (S
-                                                                  (S (S (S (S
-                                                                  (S (S (S (S
-                                                                  (S (S (S (S
-                                                                  (S (S (S (S
-                                                                  (S (S (S (S
-                                                                  (S (S (S (S
-                                                                  (S (S (S (S
-                                                                  (S (S (S (S
-                                                                  (S (S (S (S
-                                                                  (S (S (S (S
-                                                                  (S (S (S (S
-                                                                  (S
-                                                                  O)))))))))))))))))))))))))))))))))))))))))))))))))))))))))))))))))))))))))))))
-                                                                  (String
-                                                                  ((Ascii
-                                                                  (false,
-                                                                  false,
-                                                                  true,
-                                                                  false,
-                                                                  true,
-                                                                  false,
-                                                                  true,
-                                                                  false)),
-                                                                  (String
-                                                                  ((Ascii
-                                                                  (true,
-                                                                  false,
-                                                                  true,
-                                                                  false,
-                                                                  false,
-                                                                  true, true,
-                                                                  false)),
-                                                                  (String
-                                                                  ((Ascii
-                                                                  (false,
-                                                                  true,
-                                                                  false,
-                                                                  false,
-                                                                  true, true,
-                                                                  true,
-                                                                  false)),
-                                                                  (String
-                                                                  ((Ascii
-                                                                  (true,
-                                                                  false,
-                                                                  true, true,
-                                                                  false,
-                                                                  true, true,
-                                                                  false)),
-                                                                  (String
-                                                                  ((Ascii
-                                                                  (true,
-                                                                  false,
-                                                                  false,
-                                                                  true,
-                                                                  false,
-                                                                  true, true,
-                                                                  false)),
-                                                                  (String
-                                                                  ((Ascii
-                                                                  (false,
-                                                                  true, true,
-                                                                  true,
-                                                                  false,
-                                                                  true, true,
-                                                                  false)),
-                                                                  (String
-                                                                  ((Ascii
-                                                                  (true,
-                                                                  false,
-                                                                  false,
-                                                                  false,
-                                                                  false,
-                                                                  true, true,
-                                                                  false)),
-                                                                  (String
-                                                                  ((Ascii
-                                                                  (false,
-                                                                  false,
-                                                                  true, true,
-                                                                  false,
-                                                                  true, true,
-                                                                  false)),
-                                                                  (String
-                                                                  ((Ascii
-                                                                  (true,
-                                                                  true,
-                                                                  false,
-                                                                  false,
-                                                                  false,
-                                                                  false,
-                                                                  true,
-                                                                  false)),
-                                                                  (String
-                                                                  ((Ascii
-                                                                  (true,
-                                                                  false,
-                                                                  false,
-                                                                  true,
-                                                                  false,
-                                                                  true, true,
-                                                                  false)),
-                                                                  (String
-                                                                  ((Ascii
-                                                                  (false,
-                                                                  false,
-                                                                  true,
-                                                                  false,
-                                                                  true, true,
-                                                                  true,
-                                                                  false)),
-                                                                  (String
-                                                                  ((Ascii
-                                                                  (true,
-                                                                  false,
-                                                                  false,
-                                                                  true, true,
-                                                                  true, true,
-                                                                  false)),
-                                                                  EmptyString))))))))))))))))))))))))
-                                                                  ((String
-                                                                  ((Ascii
-                                                                  (true,
-                                                                  true,
-                                                                  false,
-                                                                  false,
-                                                                  true, true,
-                                                                  true,
-                                                                  false)),
-                                                                  (String
-                                                                  ((Ascii
-                                                                  (false,
-                                                                  false,
-                                                                  true,
-                                                                  false,
-                                                                  true, true,
-                                                                  true,
-                                                                  false)),
-                                                                  (String
-                                                                  ((Ascii
-                                                                  (false,
-                                                                  true,
-                                                                  false,
-                                                                  false,
-                                                                  true, true,
-                                                                  true,
-                                                                  false)),
-                                                                  (String
-                                                                  ((Ascii
-                                                                  (true,
-                                                                  false,
-                                                                  false,
-                                                                  true,
-                                                                  false,
-                                                                  true, true,
-                                                                  false)),
-                                                                  (String
-                                                                  ((Ascii
-                                                                  (false,
-                                                                  true, true,
-                                                                  true,
-                                                                  false,
-                                                                  true, true,
-                                                                  false)),
-                                                                  (String
-                                                                  ((Ascii
-                                                                  (true,
-                                                                  true, true,
-                                                                  false,
-                                                                  false,
-                                                                  true, true,
-                                                                  false)),
-                                                                  (String
-                                                                  ((Ascii
-                                                                  (true,
-                                                                  true,
-                                                                  false,
-                                                                  false,
-                                                                  true, true,
-                                                                  true,
-                                                                  false)),
-                                                                  (String
-                                                                  ((Ascii
-                                                                  (false,
-                                                                  true, true,
-                                                                  true,
-                                                                  false,
-                                                                  true,
-                                                                  false,
-                                                                  false)),
-                                                                  (String
-                                                                  ((Ascii
-                                                                  (false,
-                                                                  false,
-                                                                  true,
-                                                                  false,
-                                                                  true,
-                                                                  false,
-                                                                  true,
-                                                                  false)),
-                                                                  (String
-                                                                  ((Ascii
-                                                                  (false,
-                                                                  true,
-                                                                  false,
-                                                                  false,
-                                                                  true, true,
-                                                                  true,
-                                                                  false)),
-                                                                  (String
-                                                                  ((Ascii
-                                                                  (true,
-                                                                  false,
-                                                                  false,
-                                                                  true,
-                                                                  false,
-                                                                  true, true,
-                                                                  false)),
-                                                                  (String
-                                                                  ((Ascii
-                                                                  (true,
-                                                                  false,
-                                                                  true, true,
-                                                                  false,
-                                                                  true, true,
-                                                                  false)),
-                                                                  (String
-                                                                  ((Ascii
-                                                                  (true,
-                                                                  true,
-                                                                  false,
-                                                                  false,
-                                                                  true,
-                                                                  false,
-                                                                  true,
-                                                                  false)),
-                                                                  (String
-                                                                  ((Ascii
-                                                                  (false,
-                                                                  false,
-                                                                  false,
-                                                                  false,
-                                                                  true, true,
-                                                                  true,
-                                                                  false)),
-                                                                  (String
-                                                                  ((Ascii
-                                                                  (true,
-                                                                  false,
-                                                                  false,
-                                                                  false,
-                                                                  false,
-                                                                  true, true,
-                                                                  false)),
-                                                                  (String
-                                                                  ((Ascii
-                                                                  (true,
-                                                                  true,
-                                                                  false,
-                                                                  false,
-                                                                  false,
-                                                                  true, true,
-                                                                  false)),
-                                                                  (String
-                                                                  ((Ascii
-                                                                  (true,
-                                                                  false,
-                                                                  true,
-                                                                  false,
-                                                                  false,
-                                                                  true, true,
-                                                                  false)),
-                                                                  EmptyString)))))))))))))))))))))))))))))))))) :: [])) :: (
-    (mkcut (S (S (S (S (S (S (S (S (S (S (S (S (S (S (S (S (S (S (S (S (S (S
-      (S (S (S (S (S (S (S (S (S (S (S (S (S (S (S (S (S (S (S (S (S (S (S (S
-      (S (S (S (S (S (S (S (S (S (S (S (S (S (S (S (S (S (S (S (S (S (S (S (S
-      (S (S (S (S (S (S (S
-      O)))))))))))))))))))))))))))))))))))))))))))))))))))))))))))))))))))))))))))))
-      (S (S (S (S (S (S (S (S (S (S (S (S (S (S (S (S (S (S (S (S (S (S (S (S
-      (S (S (S (S (S (S (S (S (S (S (S (S (S (S (S (S (S (S (S (S (S (S (S (S
-      (S (S (S (S (S (S (S (S (S (S (S (S (S (S (S (S (S (S (S (S (S (S (S (S
-      (S (S (S (S (S (S (S
-      O)))))))))))))))))))))))))))))))))))))))))))))))))))))))))))))))))))))))))))))))
-      (String ((Ascii (false, false, true, false, true, false, true, false)),
-      (String ((Ascii (true, false, true, false, false, true, true, false)),
-      (String ((Ascii (false, true, false, false, true, true, true, false)),
-      (String ((Ascii (true, false, true, true, false, true, true, false)),
-      (String ((Ascii (true, false, false, true, false, true, true, false)),
-      (String ((Ascii (false, true, true, true, false, true, true, false)),
-      (String ((Ascii (true, false, false, false, false, true, true, false)),
-      (String ((Ascii (false, false, true, true, false, true, true, false)),
-      (String ((Ascii (true, true, false, false, true, false, true, false)),
-      (String ((Ascii (false, false, true, false, true, true, true, false)),
-      (String ((Ascii (true, false, false, false, false, true, true, false)),
-      (String ((Ascii (false, false, true, false, true, true, true, false)),
-      (String ((Ascii (true, false, true, false, false, true, true, false)),
-      EmptyString)))))))))))))))))))))))))) ((String ((Ascii (true, true,
-      false, false, true, true, true, false)), (String ((Ascii (false, false,
-      true, false, true, true, true, false)), (String ((Ascii (false, true,
-      false, false, true, true, true, false)), (String ((Ascii (true, false,
-      false, true, false, true, true, false)), (String ((Ascii (false, true,
-      true, true, false, true, true, false)), (String ((Ascii (true, true,
-      true, false, false, true, true, false)), (String ((Ascii (true, true,
-      false, false, true, true, true, false)), (String ((Ascii (false, true,
-      true, true, false, true, false, false)), (String ((Ascii (false, false,
-      true, false, true, false, true, false)), (String ((Ascii (false, true,
-      false, false, true, true, true, false)), (String ((Ascii (true, false,
-      false, true, false, true, true, false)), (String ((Ascii (true, false,
-      true, true, false, true, true, false)), (String ((Ascii (true, true,
-      false, false, true, false, true, false)), (String ((Ascii (false,
-      false, false, false, true, true, true, false)), (String ((Ascii (true,
-      false, false, false, false, true, true, false)), (String ((Ascii (true,
-      true, false, false, false, true, true, false)), (String ((Ascii (true,
-      false, true, false, false, true, true, false)),
-      EmptyString)))))))))))))))))))))))))))))))))) :: [])) :: ((mkcut (S (S
-                                                                  (S (S (S (S
-                                                                  (S (S (S (S
-                                                                  (S (S (S (S
-                                                                  (S (S (S (S
-                                                                  (S (S (S (S
-                                                                  (S (S (S (S
-                                                                  (S (S (S (S
-                                                                  (S (S (S (S
-                                                                  (S (S (S (S
-                                                                  (S (S (S (S
-                                                                  (S (S (S (S
-                                                                  (S (S (S (S
-                                                                  (S (S (S (S
-                                                                  (S (S (S (S
-                                                                  (S (S (S (S
-                                                                  (S (S (S (S
-                                                                  (S (S (S (S
-                                                                  (S (S (S (S
-                                                                  (S (S (S (S
-                                                                  (S
-                                                                  O)))))))))))))))))))))))))))))))))))))))))))))))))))))))))))))))))))))))))))))))
-                                                                  (S (S (S (S
-                                                                  (S (S (S (S
-                                                                  (S (S (S (S
-                                                                  (S (S (S (S
-                                                                  (S (S (S (S
-                                                                  (S (S (S (S
-                                                                  (S (S (S (S
-                                                                  (S (S (S (S
-                                                                  (S (S (S (S
-                                                                  (S (S (S (S
-                                                                  (S (S (S (S
-                                                                  (S (S (S (S
-                                                                  (S (S (S (S
-                                                                  (S (S (S (S
-                                                                  (S (S (S (S
-                                                                  (S (S (S (S
-                                                                  (S (S (S (S
-                                                                  (S (S (S (S
-                                                                  (S (S (S (S
-                                                                  (S (S (S (S
-                                                                  (S (S (S (S
-                                                                  (S (S (S (S
-                                                                  (S (S (S (S
-                                                                  (S (S
-                                                                  O))))))))))))))))))))))))))))))))))))))))))))))))))))))))))))))))))))))))))))))))))))))))))))))
-                                                                  (String
-                                                                  ((Ascii
-                                                                  (false,
-                                                                  false,
-                                                                  true,
-                                                                  false,
-                                                                  true,
-                                                                  false,
-                                                                  true,
-                                                                  false)),
-                                                                  (String
-                                                                  ((Ascii
-                                                                  (false,
-                                                                  true,
-                                                                  false,
-                                                                  false,
-                                                                  true, true,
-                                                                  true,
-                                                                  false)),
-                                                                  (String
-                                                                  ((Ascii
-                                                                  (true,
-                                                                  false,
-                                                                  false,
-                                                                  false,
-                                                                  false,
-                                                                  true, true,
-                                                                  false)),
-                                                                  (String
-                                                                  ((Ascii
-                                                                  (true,
-                                                                  true,
-                                                                  false,
-                                                                  false,
-                                                                  false,
-                                                                  true, true,
-                                                                  false)),
-                                                                  (String
-                                                                  ((Ascii
-                                                                  (true,
-                                                                  false,
-                                                                  true,
-                                                                  false,
-                                                                  false,
-                                                                  true, true,
-                                                                  false)),
-                                                                  (String
-                                                                  ((Ascii
-                                                                  (false,
-                                                                  true, true,
-                                                                  true,
-                                                                  false,
-                                                                  false,
-                                                                  true,
-                                                                  false)),
-                                                                  (String
-                                                                  ((Ascii
-                                                                  (true,
-                                                                  false,
-                                                                  true,
-                                                                  false,
-                                                                  true, true,
-                                                                  true,
-                                                                  false)),
-                                                                  (String
-                                                                  ((Ascii
-                                                                  (true,
-                                                                  false,
-                                                                  true, true,
-                                                                  false,
-                                                                  true, true,
-                                                                  false)),
-                                                                  (String
-                                                                  ((Ascii
-                                                                  (false,
-                                                                  true,
-                                                                  false,
-                                                                  false,
-                                                                  false,
-                                                                  true, true,
-                                                                  false)),
-                                                                  (String
-                                                                  ((Ascii
-                                                                  (true,
-                                                                  false,
-                                                                  true,
-                                                                  false,
-                                                                  false,
-                                                                  true, true,
-                                                                  false)),
-                                                                  (String
-                                                                  ((Ascii
-                                                                  (false,
-                                                                  true,
-                                                                  false,
-                                                                  false,
-                                                                  true, true,
-                                                                  true,
-                                                                  false)),
-                                                                  EmptyString))))))))))))))))))))))
-                                                                  ((String
-                                                                  ((Ascii
-                                                                  (true,
-                                                                  true,
-                                                                  false,
-                                                                  false,
-                                                                  true, true,
-                                                                  true,
-                                                                  false)),
-                                                                  (String
-                                                                  ((Ascii
-                                                                  (false,
-                                                                  false,
-                                                                  true,
-                                                                  false,
-                                                                  true, true,
-                                                                  true,
-                                                                  false)),
-                                                                  (String
-                                                                  ((Ascii
-                                                                  (false,
-                                                                  true,
-                                                                  false,
-                                                                  false,
-                                                                  true, true,
-                                                                  true,
-                                                                  false)),
-                                                                  (String
-                                                                  ((Ascii
-                                                                  (true,
-                                                                  false,
-                                                                  false,
-                                                                  true,
-                                                                  false,
-                                                                  true, true,
-                                                                  false)),
-                                                                  (String
-                                                                  ((Ascii
-                                                                  (false,
-                                                                  true, true,
-                                                                  true,
-                                                                  false,
-                                                                  true, true,
-                                                                  false)),
-                                                                  (String
-                                                                  ((Ascii
-                                                                  (true,
-                                                                  true, true,
-                                                                  false,
-                                                                  false,
-                                                                  true, true,
-                                                                  false)),
-                                                                  (String
-                                                                  ((Ascii
-                                                                  (true,
-                                                                  true,
-                                                                  false,
-                                                                  false,
-                                                                  true, true,
-                                                                  true,
-                                                                  false)),
-                                                                  (String
-                                                                  ((Ascii
-                                                                  (false,
-                                                                  true, true,
-                                                                  true,
-                                                                  false,
-                                                                  true,
-                                                                  false,
-                                                                  false)),
-                                                                  (String
-                                                                  ((Ascii
-                                                                  (false,
-                                                                  false,
-                                                                  true,
-                                                                  false,
-                                                                  true,
-                                                                  false,
-                                                                  true,
-                                                                  false)),
-                                                                  (String
-                                                                  ((Ascii
-                                                                  (false,
-                                                                  true,
-                                                                  false,
-                                                                  false,
-                                                                  true, true,
-                                                                  true,
-                                                                  false)),
-                                                                  (String
-                                                                  ((Ascii
-                                                                  (true,
-                                                                  false,
-                                                                  false,
-                                                                  true,
-                                                                  false,
-                                                                  true, true,
-                                                                  false)),
-                                                                  (String
-                                                                  ((Ascii
-                                                                  (true,
-                                                                  false,
-                                                                  true, true,
-                                                                  false,
-                                                                  true, true,
-                                                                  false)),
-                                                                  (String
-                                                                  ((Ascii
-                                                                  (true,
-                                                                  true,
-                                                                  false,
-                                                                  false,
-                                                                  true,
-                                                                  false,
-                                                                  true,
-                                                                  false)),
-                                                                  (String
-                                                                  ((Ascii
-                                                                  (false,
-                                                                  false,
-                                                                  false,
-                                                                  false,
-                                                                  true, true,
-                                                                  true,
-                                                                  false)),
-                                                                  (String
-                                                                  ((Ascii
-                                                                  (true,
-                                                                  false,
-                                                                  false,
-                                                                  false,
-                                                                  false,
-                                                                  true, true,
-                                                                  false)),
-                                                                  (String
-                                                                  ((Ascii
-                                                                  (true,
-                                                                  true,
-                                                                  false,
-                                                                  false,
-                                                                  false,
-                                                                  true, true,
-                                                                  false)),
-                                                                  (String
-                                                                  ((Ascii
-                                                                  (true,
-                                                                  false,
-                                                                  true,
-                                                                  false,
-                                                                  false,
-                                                                  true, true,
-                                                                  false)),
-                                                                  EmptyString)))))))))))))))))))))))))))))))))) :: [])) :: [])))))))))))) }
+let amount_adv_arms =
+  { sa_codes = ((Zpos (XI (XO (XO (XO (XI (XO XH))))))) :: ((Zpos (XI (XI (XO
+    (XO (XI (XO XH))))))) :: ((Zpos (XI (XO (XI (XO (XI (XO
+    XH))))))) :: ((Zpos (XI (XI (XI (XO (XI (XO XH))))))) :: []))));
+    sa_target = TCredit; sa_unknown = false } :: ({ sa_codes = ((Zpos (XO (XI
+    (XO (XO (XI (XO XH))))))) :: ((Zpos (XO (XO (XI (XO (XI (XO
+    XH))))))) :: ((Zpos (XO (XI (XI (XO (XI (XO XH))))))) :: ((Zpos (XO (XO
+    (XO (XI (XI (XO XH))))))) :: [])))); sa_target = TDebit; sa_unknown =
+    false } :: [])
 
-(** val l_Addenda05 : layout **)
+(** val seg_standard_codes : z list **)
 
-let l_Addenda05 =
-  { l_name = (String ((Ascii (true, false, false, false, false, false, true,
-    false)), (String ((Ascii (false, false, true, false, false, true, true,
-    false)), (String ((Ascii (false, false, true, false, false, true, true,
-    false)), (String ((Ascii (true, false, true, false, false, true, true,
-    false)), (String ((Ascii (false, true, true, true, false, true, true,
-    false)), (String ((Ascii (false, false, true, false, false, true, true,
-    false)), (String ((Ascii (true, false, false, false, false, true, true,
-    false)), (String ((Ascii (false, false, false, false, true, true, false,
-    false)), (String ((Ascii (true, false, true, false, true, true, false,
-    false)), EmptyString)))))))))))))))))); l_ix = IRune; l_segs = ((SLit
-    ((Npos (XI (XI (XI (XO (XI XH)))))) :: [])) :: ((SRaw (String ((Ascii
-    (false, false, true, false, true, false, true, false)), (String ((Ascii
-    (true, false, false, true, true, true, true, false)), (String ((Ascii
-    (false, false, false, false, true, true, true, false)), (String ((Ascii
-    (true, false, true, false, false, true, true, false)), (String ((Ascii
-    (true, true, false, false, false, false, true, false)), (String ((Ascii
-    (true, true, true, true, false, true, true, false)), (String ((Ascii
-    (false, false, true, false, false, true, true, false)), (String ((Ascii
-    (true, false, true, false, false, true, true, false)),
-    EmptyString))))))))))))))))) :: ((SAlpha ((String ((Ascii (false, false,
-    false, false, true, false, true, false)), (String ((Ascii (true, false,
-    false, false, false, true, true, false)), (String ((Ascii (true, false,
-    false, true, true, true, true, false)), (String ((Ascii (true, false,
-    true, true, false, true, true, false)), (String ((Ascii (true, false,
-    true, false, false, true, true, false)), (String ((Ascii (false, true,
-    true, true, false, true, true, false)), (String ((Ascii (false, false,
-    true, false, true, true, true, false)), (String ((Ascii (false, true,
-    false, false, true, false, true, false)), (String ((Ascii (true, false,
-    true, false, false, true, true, false)), (String ((Ascii (false, false,
-    true, true, false, true, true, false)), (String ((Ascii (true, false,
-    false, false, false, true, true, false)), (String ((Ascii (false, false,
-    true, false, true, true, true, false)), (String ((Ascii (true, false,
-    true, false, false, true, true, false)), (String ((Ascii (false, false,
-    true, false, false, true, true, false)), (String ((Ascii (true, false,
-    false, true, false, false, true, false)), (String ((Ascii (false, true,
-    true, true, false, true, true, false)), (String ((Ascii (false, true,
-    true, false, false, true, true, false)), (String ((Ascii (true, true,
-    true, true, false, true, true, false)), (String ((Ascii (false, true,
-    false, false, true, true, true, false)), (String ((Ascii (true, false,
-    true, true, false, true, true, false)), (String ((Ascii (true, false,
-    false, false, false, true, true, false)), (String ((Ascii (false, false,
-    true, false, true, true, true, false)), (String ((Ascii (true, false,
-    false, true, false, true, true, false)), (String ((Ascii (true, true,
-    true, true, false, true, true, false)), (String ((Ascii (false, true,
-    true, true, false, true, true, false)),
-    EmptyString)))))))))))))))))))))))))))))))))))))))))))))))))), (S (S (S
-    (S (S (S (S (S (S (S (S (S (S (S (S (S (S (S (S (S (S (S (S (S (S (S (S
-    (S (S (S (S (S (S (S (S (S (S (S (S (S (S (S (S (S (S (S (S (S (S (S (S
-    (S (S (S (S (S (S (S (S (S (S (S (S (S (S (S (S (S (S (S (S (S (S (S (S
-    (S (S (S (S (S
-    O)))))))))))))))))))))))))))))))))))))))))))))))))))))))))))))))))))))))))))))))))) :: ((SNum
-    ((String ((Ascii (true, true, false, false, true, false, true, false)),
-    (String ((Ascii (true, false, true, false, false, true, true, false)),
-    (String ((Ascii (true, false, false, false, true, true, true, false)),
-    (String ((Ascii (true, false, true, false, true, true, true, false)),
-    (String ((Ascii (true, false, true, false, false, true, true, false)),
-    (String ((Ascii (false, true, true, true, false, true, true, false)),
-    (String ((Ascii (true, true, false, false, false, true, true, false)),
-    (String ((Ascii (true, false, true, false, false, true, true, false)),
-    (String ((Ascii (false, true, true, true, false, false, true, false)),
-    (String ((Ascii (true, false, true, false, true, true, true, false)),
-    (String ((Ascii (true, false, true, true, false, true, true, false)),
-    (String ((Ascii (false, true, false, false, false, true, true, false)),
-    (String ((Ascii (true, false, true, false, false, true, true, false)),
-    (String ((Ascii (false, true, false, false, true, true, true, false)),
-    EmptyString)))))))))))))))))))))))))))), (S (S (S (S O)))))) :: ((SNum
-    ((String ((Ascii (true, false, true, false, false, false, true, false)),
-    (String ((Ascii (false, true, true, true, false, true, true, false)),
-    (String ((Ascii (false, false, true, false, true, true, true, false)),
-    (String ((Ascii (false, true, false, false, true, true, true, false)),
-    (String ((Ascii (true, false, false, true, true, true, true, false)),
-    (String ((Ascii (false, false, true, false, false, false, true, false)),
-    (String ((Ascii (true, false, true, false, false, true, true, false)),
-    (String ((Ascii (false, false, true, false, true, true, true, false)),
-    (String ((Ascii (true, false, false, false, false, true, true, false)),
-    (String ((Ascii (true, false, false, true, false, true, true, false)),
-    (String ((Ascii (false, false, true, true, false, true, true, false)),
-    (String ((Ascii (true, true, false, false, true, false, true, false)),
-    (String ((Ascii (true, false, true, false, false, true, true, false)),
-    (String ((Ascii (true, false, false, false, true, true, true, false)),
-    (String ((Ascii (true, false, true, false, true, true, true, false)),
-    (String ((Ascii (true, false, true, false, false, true, true, false)),
-    (String ((Ascii (false, true, true, true, false, true, true, false)),
-    (String ((Ascii (true, true, false, false, false, true, true, false)),
-    (String ((Ascii (true, false, true, false, false, true, true, false)),
-    (String ((Ascii (false, true, true, true, false, false, true, false)),
-    (String ((Ascii (true, false, true, false, true, true, true, false)),
-    (String ((Ascii (true, false, true, true, false, true, true, false)),
-    (String ((Ascii (false, true, false, false, false, true, true, false)),
-    (String ((Ascii (true, false, true, false, false, true, true, false)),
-    (String ((Ascii (false, true, false, false, true, true, true, false)),
-    EmptyString)))))))))))))))))))))))))))))))))))))))))))))))))), (S (S (S
-    (S (S (S (S O))))))))) :: []))))); l_cuts =
-    ((mkcut O (S O) EmptyString []) :: ((mkcut (S O) (S (S (S O))) (String
-                                          ((Ascii (false, false, true, false,
-                                          true, false, true, false)), (String
-                                          ((Ascii (true, false, false, true,
-                                          true, true, true, false)), (String
-                                          ((Ascii (false, false, false,
-                                          false, true, true, true, false)),
-                                          (String ((Ascii (true, false, true,
-                                          false, false, true, true, false)),
-                                          (String ((Ascii (true, true, false,
-                                          false, false, false, true, false)),
-                                          (String ((Ascii (true, true, true,
-                                          true, false, true, true, false)),
-                                          (String ((Ascii (false, false,
-                                          true, false, false, true, true,
-                                          false)), (String ((Ascii (true,
-                                          false, true, false, false, true,
-                                          true, false)),
-                                          EmptyString)))))))))))))))) []) :: (
-    (mkcut (S (S (S O))) (S (S (S (S (S (S (S (S (S (S (S (S (S (S (S (S (S
-      (S (S (S (S (S (S (S (S (S (S (S (S (S (S (S (S (S (S (S (S (S (S (S (S
-      (S (S (S (S (S (S (S (S (S (S (S (S (S (S (S (S (S (S (S (S (S (S (S (S
-      (S (S (S (S (S (S (S (S (S (S (S (S (S (S (S (S (S (S
-      O)))))))))))))))))))))))))))))))))))))))))))))))))))))))))))))))))))))))))))))))))))
-      (String ((Ascii (false, false, false, false, true, false, true,
-      false)), (String ((Ascii (true, false, false, false, false, true, true,
-      false)), (String ((Ascii (true, false, false, true, true, true, true,
-      false)), (String ((Ascii (true, false, true, true, false, true, true,
-      false)), (String ((Ascii (true, false, true, false, false, true, true,
-      false)), (String ((Ascii (false, true, true, true, false, true, true,
-      false)), (String ((Ascii (false, false, true, false, true, true, true,
-      false)), (String ((Ascii (false, true, false, false, true, false, true,
-      false)), (String ((Ascii (true, false, true, false, false, true, true,
-      false)), (String ((Ascii (false, false, true, true, false, true, true,
-      false)), (String ((Ascii (true, false, false, false, false, true, true,
-      false)), (String ((Ascii (false, false, true, false, true, true, true,
-      false)), (String ((Ascii (true, false, true, false, false, true, true,
-      false)), (String ((Ascii (false, false, true, false, false, true, true,
-      false)), (String ((Ascii (true, false, false, true, false, false, true,
-      false)), (String ((Ascii (false, true, true, true, false, true, true,
-      false)), (String ((Ascii (false, true, true, false, false, true, true,
-      false)), (String ((Ascii (true, true, true, true, false, true, true,
-      false)), (String ((Ascii (false, true, false, false, true, true, true,
-      false)), (String ((Ascii (true, false, true, true, false, true, true,
-      false)), (String ((Ascii (true, false, false, false, false, true, true,
-      false)), (String ((Ascii (false, false, true, false, true, true, true,
-      false)), (String ((Ascii (true, false, false, true, false, true, true,
-      false)), (String ((Ascii (true, true, true, true, false, true, true,
-      false)), (String ((Ascii (false, true, true, true, false, true, true,
-      false)), EmptyString))))))))))))))))))))))))))))))))))))))))))))))))))
-      ((String ((Ascii (true, true, false, false, true, true, true, false)),
-      (String ((Ascii (false, false, true, false, true, true, true, false)),
-      (String ((Ascii (false, true, false, false, true, true, true, false)),
-      (String ((Ascii (true, false, false, true, false, true, true, false)),
-      (String ((Ascii (false, true, true, true, false, true, true, false)),
-      (String ((Ascii (true, true, true, false, false, true, true, false)),
-      (String ((Ascii (true, true, false, false, true, true, true, false)),
-      (String ((Ascii (false, true, true, true, false, true, false, false)),
-      (String ((Ascii (false, false, true, false, true, false, true, false)),
-      (String ((Ascii (false, true, false, false, true, true, true, false)),
-      (String ((Ascii (true, false, false, true, false, true, true, false)),
-      (String ((Ascii (true, false, true, true, false, true, true, false)),
-      (String ((Ascii (true, true, false, false, true, false, true, false)),
-      (String ((Ascii (false, false, false, false, true, true, true, false)),
-      (String ((Ascii (true, false, false, false, false, true, true, false)),
-      (String ((Ascii (true, true, false, false, false, true, true, false)),
-      (String ((Ascii (true, false, true, false, false, true, true, false)),
-      EmptyString)))))))))))))))))))))))))))))))))) :: [])) :: ((mkcut (S (S
-                                                                  (S (S (S (S
-                                                                  (S (S (S (S
-                                                                  (S (S (S (S
-                                                                  (S (S (S (S
-                                                                  (S (S (S (S
-                                                                  (S (S (S (S
-                                                                  (S (S (S (S
-                                                                  (S (S (S (S
-                                                                  (S (S (S (S
-                                                                  (S (S (S (S
-                                                                  (S (S (S (S
-                                                                  (S (S (S (S
-                                                                  (S (S (S (S
-                                                                  (S (S (S (S
-                                                                  (S (S (S (S
-                                                                  (S (S (S (S
-                                                                  (S (S (S (S
-                                                                  (S (S (S (S
-                                                                  (S (S (S (S
-                                                                  (S (S (S (S
-                                                                  (S
-                                                                  O)))))))))))))))))))))))))))))))))))))))))))))))))))))))))))))))))))))))))))))))))))
-                                                                  (S (S (S (S
-                                                                  (S (S (S (S
-                                                                  (S (S (S (S
-                                                                  (S (S (S (S
-                                                                  (S (S (S (S
-                                                                  (S (S (S (S
-                                                                  (S (S (S (S
-                                                                  (S (S (S (S
-                                                                  (S (S (S (S
-                                                                  (S (S (S (S
-                                                                  (S (S (S (S
-                                                                  (S (S (S (S
-                                                                  (S (S (S (S
-                                                                  (S (S (S (S
-                                                                  (S (S (S (S
-                                                                  (S (S (S (S
-                                                                  (S (S (S (S
-                                                                  (S (S (S (S
-                                                                  (S (S (S (S
-                                                                  (S (S (S (S
-                                                                  (S (S (S (S
-                                                                  (S (S (S
-                                                                  O)))))))))))))))))))))))))))))))))))))))))))))))))))))))))))))))))))))))))))))))))))))))
-                                                                  (String
-                                                                  ((Ascii
-                                                                  (true,
-                                                                  true,
-                                                                  false,
-                                                                  false,
-                                                                  true,
-                                                                  false,
-                                                                  true,
-                                                                  false)),
-                                                                  (String
-                                                                  ((Ascii
-                                                                  (true,
-                                                                  false,
-                                                                  true,
-                                                                  false,
-                                                                  false,
-                                                                  true, true,
-                                                                  false)),
-                                                                  (String
-                                                                  ((Ascii
-                                                                  (true,
-                                                                  false,
-                                                                  false,
-                                                                  false,
-                                                                  true, true,
-                                                                  true,
-                                                                  false)),
-                                                                  (String
-                                                                  ((Ascii
-                                                                  (true,
-                                                                  false,
-                                                                  true,
-                                                                  false,
-                                                                  true, true,
-                                                                  true,
-                                                                  false)),
-                                                                  (String
-                                                                  ((Ascii
-                                                                  (true,
-                                                                  false,
-                                                                  true,
-                                                                  false,
-                                                                  false,
-                                                                  true, true,
-                                                                  false)),
-                                                                  (String
-                                                                  ((Ascii
-                                                                  (false,
-                                                                  true, true,
-                                                                  true,
-                                                                  false,
-                                                                  true, true,
-                                                                  false)),
-                                                                  (String
-                                                                  ((Ascii
-                                                                  (true,
-                                                                  true,
-                                                                  false,
-                                                                  false,
-                                                                  false,
-                                                                  true, true,
-                                                                  false)),
-                                                                  (String
-                                                                  ((Ascii
-                                                                  (true,
-                                                                  false,
-                                                                  true,
-                                                                  false,
-                                                                  false,
-                                                                  true, true,
-                                                                  false)),
-                                                                  (String
-                                                                  ((Ascii
-                                                                  (false,
-                                                                  true, true,
-                                                                  true,
-                                                                  false,
-                                                                  false,
-                                                                  true,
-                                                                  false)),
-                                                                  (String
-                                                                  ((Ascii
-                                                                  (true,
-                                                                  false,
-                                                                  true,
-                                                                  false,
-                                                                  true, true,
-                                                                  true,
-                                                                  false)),
-                                                                  (String
-                                                                  ((Ascii
-                                                                  (true,
-                                                                  false,
-                                                                  true, true,
-                                                                  false,
-                                                                  true, true,
-                                                                  false)),
-                                                                  (String
-                                                                  ((Ascii
-                                                                  (false,
-                                                                  true,
-                                                                  false,
-                                                                  false,
-                                                                  false,
-                                                                  true, true,
-                                                                  false)),
-                                                                  (String
-                                                                  ((Ascii
-                                                                  (true,
-                                                                  false,
-                                                                  true,
-                                                                  false,
-                                                                  false,
-                                                                  true, true,
-                                                                  false)),
-                                                                  (String
-                                                                  ((Ascii
-                                                                  (false,
-                                                                  true,
-                                                                  false,
-                                                                  false,
-                                                                  true, true,
-                                                                  true,
-                                                                  false)),
-                                                                  EmptyString))))))))))))))))))))))))))))
-                                                                  ((String
-                                                                  ((Ascii
-                                                                  (false,
-                                                                  false,
-                                                                  false,
-                                                                  false,
-                                                                  true, true,
-                                                                  true,
-                                                                  false)),
-                                                                  (String
-                                                                  ((Ascii
-                                                                  (true,
-                                                                  false,
-                                                                  false,
-                                                                  false,
-                                                                  false,
-                                                                  true, true,
-                                                                  false)),
-                                                                  (String
-                                                                  ((Ascii
-                                                                  (false,
-                                                                  true,
-                                                                  false,
-                                                                  false,
-                                                                  true, true,
-                                                                  true,
-                                                                  false)),
-                                                                  (String
-                                                                  ((Ascii
-                                                                  (true,
-                                                                  true,
-                                                                  false,
-                                                                  false,
-                                                                  true, true,
-                                                                  true,
-                                                                  false)),
-                                                                  (String
-                                                                  ((Ascii
-                                                                  (true,
-                                                                  false,
-                                                                  true,
-                                                                  false,
-                                                                  false,
-                                                                  true, true,
-                                                                  false)),
-                                                                  (String
-                                                                  ((Ascii
-                                                                  (false,
-                                                                  true, true,
-                                                                  true,
-                                                                  false,
-                                                                  false,
-                                                                  true,
-                                                                  false)),
-                                                                  (String
-                                                                  ((Ascii
-                                                                  (true,
-                                                                  false,
-                                                                  true,
-                                                                  false,
-                                                                  true, true,
-                                                                  true,
-                                                                  false)),
-                                                                  (String
-                                                                  ((Ascii
-                                                                  (true,
-                                                                  false,
-                                                                  true, true,
-                                                                  false,
-                                                                  true, true,
-                                                                  false)),
-                                                                  (String
-                                                                  ((Ascii
-                                                                  (false,
-                                                                  true, true,
-                                                                  false,
-                                                                  false,
-                                                                  false,
-                                                                  true,
-                                                                  false)),
-                                                                  (String
-                                                                  ((Ascii
-                                                                  (true,
-                                                                  false,
-                                                                  false,
-                                                                  true,
-                                                                  false,
-                                                                  true, true,
-                                                                  false)),
-                                                                  (String
-                                                                  ((Ascii
-                                                                  (true,
-                                                                  false,
-                                                                  true,
-                                                                  false,
-                                                                  false,
-                                                                  true, true,
-                                                                  false)),
-                                                                  (String
-                                                                  ((Ascii
-                                                                  (false,
-                                                                  false,
-                                                                  true, true,
-                                                                  false,
-                                                                  true, true,
-                                                                  false)),
-                                                                  (String
-                                                                  ((Ascii
-                                                                  (false,
-                                                                  false,
-                                                                  true,
-                                                                  false,
-                                                                  false,
-                                                                  true, true,
-                                                                  false)),
-                                                                  EmptyString)))))))))))))))))))))))))) :: [])) :: (
-    (mkcut (S (S (S (S (S (S (S (S (S (S (S (S (S (S (S (S (S (S (S (S (S (S
-      (S (S (S (S (S (S (S (S (S (S (S (S (S (S (S (S (S (S (S (S (S (S (S (S
-      (S (S (S (S (S (S (S (S (S (S (S (S (S (S (S (S (S (S (S (S (S (S (S (S
-      (S (S (S (S (S (S (S (S (S (S (S (S (S (S (S (S (S
-      O)))))))))))))))))))))))))))))))))))))))))))))))))))))))))))))))))))))))))))))))))))))))
-      (S (S (S (S (S (S (S (S (S (S (S (S (S (S (S (S (S (S (S (S (S (S (S (S
-      (S (S (S (S (S (S (S (S (S (S (S (S (S (S (S (S (S (S (S (S (S (S (S (S
-      (S (S (S (S (S (S (S (S (S (S (S (S (S (S (S (S (S (S (S (S (S (S (S (S
-      (S (S (S (S (S (S (S (S (S (S (S (S (S (S (S (S (S (S (S (S (S (S
-      O))))))))))))))))))))))))))))))))))))))))))))))))))))))))))))))))))))))))))))))))))))))))))))))
-      (String ((Ascii (true, false, true, false, false, false, true, false)),
-      (String ((Ascii (false, true, true, true, false, true, true, false)),
-      (String ((Ascii (false, false, true, false, true, true, true, false)),
-      (String ((Ascii (false, true, false, false, true, true, true, false)),
-      (String ((Ascii (true, false, false, true, true, true, true, false)),
-      (String ((Ascii (false, false, true, false, false, false, true,
-      false)), (String ((Ascii (true, false, true, false, false, true, true,
-      false)), (String ((Ascii (false, false, true, false, true, true, true,
-      false)), (String ((Ascii (true, false, false, false, false, true, true,
-      false)), (String ((Ascii (true, false, false, true, false, true, true,
-      false)), (String ((Ascii (false, false, true, true, false, true, true,
-      false)), (String ((Ascii (true, true, false, false, true, false, true,
-      false)), (String ((Ascii (true, false, true, false, false, true, true,
-      false)), (String ((Ascii (true, false, false, false, true, true, true,
-      false)), (String ((Ascii (true, false, true, false, true, true, true,
-      false)), (String ((Ascii (true, false, true, false, false, true, true,
-      false)), (String ((Ascii (false, true, true, true, false, true, true,
-      false)), (String ((Ascii (true, true, false, false, false, true, true,
-      false)), (String ((Ascii (true, false, true, false, false, true, true,
-      false)), (String ((Ascii (false, true, true, true, false, false, true,
-      false)), (String ((Ascii (true, false, true, false, true, true, true,
-      false)), (String ((Ascii (true, false, true, true, false, true, true,
-      false)), (String ((Ascii (false, true, false, false, false, true, true,
-      false)), (String ((Ascii (true, false, true, false, false, true, true,
-      false)), (String ((Ascii (false, true, false, false, true, true, true,
-      false)), EmptyString))))))))))))))))))))))))))))))))))))))))))))))))))
-      ((String ((Ascii (false, false, false, false, true, true, true,
-      false)), (String ((Ascii (true, false, false, false, false, true, true,
-      false)), (String ((Ascii (false, true, false, false, true, true, true,
-      false)), (String ((Ascii (true, true, false, false, true, true, true,
-      false)), (String ((Ascii (true, false, true, false, false, true, true,
-      false)), (String ((Ascii (false, true, true, true, false, false, true,
-      false)), (String ((Ascii (true, false, true, false, true, true, true,
-      false)), (String ((Ascii (true, false, true, true, false, true, true,
-      false)), (String ((Ascii (false, true, true, false, false, false, true,
-      false)), (String ((Ascii (true, false, false, true, false, true, true,
-      false)), (String ((Ascii (true, false, true, false, false, true, true,
-      false)), (String ((Ascii (false, false, true, true, false, true, true,
-      false)), (String ((Ascii (false, false, true, false, false, true, true,
-      false)), EmptyString)))))))))))))))))))))))))) :: [])) :: []))))) }
+let seg_standard_codes =
+  (Zpos (XI (XO (XI (XO XH))))) :: ((Zpos (XO (XI (XI (XO XH))))) :: ((Zpos
+    (XI (XI (XI (XO XH))))) :: ((Zpos (XO (XO (XO (XI XH))))) :: ((Zpos (XO
+    (XI (XO (XI XH))))) :: ((Zpos (XI (XI (XO (XI XH))))) :: ((Zpos (XO (XO
+    (XI (XI XH))))) :: ((Zpos (XI (XO (XI (XI XH))))) :: ((Zpos (XI (XI (XI
+    (XI XH))))) :: ((Zpos (XO (XO (XO (XO (XO XH)))))) :: ((Zpos (XI (XO (XO
+    (XO (XO XH)))))) :: ((Zpos (XO (XI (XO (XO (XO XH)))))) :: ((Zpos (XO (XO
+    (XI (XO (XO XH)))))) :: ((Zpos (XI (XO (XI (XO (XO XH)))))) :: ((Zpos (XO
+    (XI (XI (XO (XO XH)))))) :: ((Zpos (XI (XI (XI (XO (XO XH)))))) :: ((Zpos
+    (XI (XO (XO (XI (XO XH)))))) :: ((Zpos (XO (XI (XO (XI (XO
+    XH)))))) :: ((Zpos (XI (XI (XO (XI (XO XH)))))) :: ((Zpos (XO (XO (XI (XI
+    (XO XH)))))) :: ((Zpos (XO (XI (XI (XI (XO XH)))))) :: ((Zpos (XI (XI (XI
+    (XI (XO XH)))))) :: ((Zpos (XO (XO (XO (XO (XI XH)))))) :: ((Zpos (XI (XO
+    (XO (XO (XI XH)))))) :: ((Zpos (XI (XI (XO (XO (XI XH)))))) :: ((Zpos (XO
+    (XO (XI (XO (XI XH)))))) :: ((Zpos (XI (XO (XI (XO (XI XH)))))) :: ((Zpos
+    (XO (XI (XI (XO (XI XH)))))) :: ((Zpos (XI (XI (XI (XO (XI
+    XH)))))) :: ((Zpos (XO (XO (XO (XI (XI XH)))))) :: ((Zpos (XI (XO (XO (XO
+    (XI (XO XH))))))) :: ((Zpos (XO (XI (XO (XO (XI (XO XH))))))) :: ((Zpos
+    (XI (XI (XO (XO (XI (XO XH))))))) :: ((Zpos (XO (XO (XI (XO (XI (XO
+    XH))))))) :: ((Zpos (XI (XO (XI (XO (XI (XO XH))))))) :: ((Zpos (XO (XI
+    (XI (XO (XI (XO XH))))))) :: ((Zpos (XI (XI (XI (XO (XI (XO
+    XH))))))) :: ((Zpos (XO (XO (XO (XI (XI (XO
+    XH))))))) :: [])))))))))))))))))))))))))))))))))))))
 
-(** val l_Addenda10 : layout **)
+(** val seg_scc_std : scc_arm list **)
 
-let l_Addenda10 =
-  { l_name = (String ((Ascii (true, false, false, false, false, false, true,
-    false)), (String ((Ascii (false, false, true, false, false, true, true,
-    false)), (String ((Ascii (false, false, true, false, false, true, true,
-    false)), (String ((Ascii (true, false, true, false, false, true, true,
-    false)), (String ((Ascii (false, true, true, true, false, true, true,
-    false)), (String ((Ascii (false, false, true, false, false, true, true,
-    false)), (String ((Ascii (true, false, false, false, false, true, true,
-    false)), (String ((Ascii (true, false, false, false, true, true, false,
-    false)), (String ((Ascii (false, false, false, false, true, true, false,
-    false)), EmptyString)))))))))))))))))); l_ix = IRune; l_segs = ((SLit
-    ((Npos (XI (XI (XI (XO (XI XH)))))) :: [])) :: ((SRaw (String ((Ascii
-    (false, false, true, false, true, false, true, false)), (String ((Ascii
-    (true, false, false, true, true, true, true, false)), (String ((Ascii
-    (false, false, false, false, true, true, true, false)), (String ((Ascii
-    (true, false, true, false, false, true, true, false)), (String ((Ascii
-    (true, true, false, false, false, false, true, false)), (String ((Ascii
-    (true, true, true, true, false, true, true, false)), (String ((Ascii
-    (false, false, true, false, false, true, true, false)), (String ((Ascii
-    (true, false, true, false, false, true, true, false)),
-    EmptyString))))))))))))))))) :: ((SRaw (String ((Ascii (false, false,
-    true, false, true, false, true, false)), (String ((Ascii (false, true,
-    false, false, true, true, true, false)), (String ((Ascii (true, false,
-    false, false, false, true, true, false)), (String ((Ascii (false, true,
-    true, true, false, true, true, false)), (String ((Ascii (true, true,
-    false, false, true, true, true, false)), (String ((Ascii (true, false,
-    false, false, false, true, true, false)), (String ((Ascii (true, true,
-    false, false, false, true, true, false)), (String ((Ascii (false, false,
-    true, false, true, true, true, false)), (String ((Ascii (true, false,
-    false, true, false, true, true, false)), (String ((Ascii (true, true,
-    true, true, false, true, true, false)), (String ((Ascii (false, true,
-    true, true, false, true, true, false)), (String ((Ascii (false, false,
-    true, false, true, false, true, false)), (String ((Ascii (true, false,
-    false, true, true, true, true, false)), (String ((Ascii (false, false,
-    false, false, true, true, true, false)), (String ((Ascii (true, false,
-    true, false, false, true, true, false)), (String ((Ascii (true, true,
-    false, false, false, false, true, false)), (String ((Ascii (true, true,
-    true, true, false, true, true, false)), (String ((Ascii (false, false,
-    true, false, false, true, true, false)), (String ((Ascii (true, false,
-    true, false, false, true, true, false)),
-    EmptyString))))))))))))))))))))))))))))))))))))))) :: ((SNum ((String
-    ((Ascii (false, true, true, false, false, false, true, false)), (String
-    ((Ascii (true, true, true, true, false, true, true, false)), (String
-    ((Ascii (false, true, false, false, true, true, true, false)), (String
-    ((Ascii (true, false, true, false, false, true, true, false)), (String
-    ((Ascii (true, false, false, true, false, true, true, false)), (String
-    ((Ascii (true, true, true, false, false, true, true, false)), (String
-    ((Ascii (false, true, true, true, false, true, true, false)), (String
-    ((Ascii (false, false, false, false, true, false, true, false)), (String
-    ((Ascii (true, false, false, false, false, true, true, false)), (String
-    ((Ascii (true, false, false, true, true, true, true, false)), (String
-    ((Ascii (true, false, true, true, false, true, true, false)), (String
-    ((Ascii (true, false, true, false, false, true, true, false)), (String
-    ((Ascii (false, true, true, true, false, true, true, false)), (String
-    ((Ascii (false, false, true, false, true, true, true, false)), (String
-    ((Ascii (true, false, false, false, false, false, true, false)), (String
-    ((Ascii (true, false, true, true, false, true, true, false)), (String
-    ((Ascii (true, true, true, true, false, true, true, false)), (String
-    ((Ascii (true, false, true, false, true, true, true, false)), (String
-    ((Ascii (false, true, true, true, false, true, true, false)), (String
-    ((Ascii (false, false, true, false, true, true, true, false)),
-    EmptyString)))))))))))))))))))))))))))))))))))))))), (S (S (S (S (S (S (S
-    (S (S (S (S (S (S (S (S (S (S (S O)))))))))))))))))))) :: ((SAlpha
-    ((String ((Ascii (false, true, true, false, false, false, true, false)),
-    (String ((Ascii (true, true, true, true, false, true, true, false)),
-    (String ((Ascii (false, true, false, false, true, true, true, false)),
-    (String ((Ascii (true, false, true, false, false, true, true, false)),
-    (String ((Ascii (true, false, false, true, false, true, true, false)),
-    (String ((Ascii (true, true, true, false, false, true, true, false)),
-    (String ((Ascii (false, true, true, true, false, true, true, false)),
-    (String ((Ascii (false, false, true, false, true, false, true, false)),
-    (String ((Ascii (false, true, false, false, true, true, true, false)),
-    (String ((Ascii (true, false, false, false, false, true, true, false)),
-    (String ((Ascii (true, true, false, false, false, true, true, false)),
-    (String ((Ascii (true, false, true, false, false, true, true, false)),
-    (String ((Ascii (false, true, true, true, false, false, true, false)),
-    (String ((Ascii (true, false, true, false, true, true, true, false)),
-    (String ((Ascii (true, false, true, true, false, true, true, false)),
-    (String ((Ascii (false, true, false, false, false, true, true, false)),
-    (String ((Ascii (true, false, true, false, false, true, true, false)),
-    (String ((Ascii (false, true, false, false, true, true, true, false)),
-    EmptyString)))))))))))))))))))))))))))))))))))), (S (S (S (S (S (S (S (S
-    (S (S (S (S (S (S (S (S (S (S (S (S (S (S
-    O)))))))))))))))))))))))) :: ((SAlpha ((String ((Ascii (false, true,
-    true, true, false, false, true, false)), (String ((Ascii (true, false,
-    false, false, false, true, true, false)), (String ((Ascii (true, false,
-    true, true, false, true, true, false)), (String ((Ascii (true, false,
-    true, false, false, true, true, false)), EmptyString)))))))), (S (S (S (S
-    (S (S (S (S (S (S (S (S (S (S (S (S (S (S (S (S (S (S (S (S (S (S (S (S
-    (S (S (S (S (S (S (S O))))))))))))))))))))))))))))))))))))) :: ((SLit
-    ((Npos (XO (XO (XO (XO (XO XH)))))) :: ((Npos (XO (XO (XO (XO (XO
-    XH)))))) :: ((Npos (XO (XO (XO (XO (XO XH)))))) :: ((Npos (XO (XO (XO (XO
-    (XO XH)))))) :: ((Npos (XO (XO (XO (XO (XO XH)))))) :: ((Npos (XO (XO (XO
-    (XO (XO XH)))))) :: []))))))) :: ((SNum ((String ((Ascii (true, false,
-    true, false, false, false, true, false)), (String ((Ascii (false, true,
-    true, true, false, true, true, false)), (String ((Ascii (false, false,
-    true, false, true, true, true, false)), (String ((Ascii (false, true,
-    false, false, true, true, true, false)), (String ((Ascii (true, false,
-    false, true, true, true, true, false)), (String ((Ascii (false, false,
-    true, false, false, false, true, false)), (String ((Ascii (true, false,
-    true, false, false, true, true, false)), (String ((Ascii (false, false,
-    true, false, true, true, true, false)), (String ((Ascii (true, false,
-    false, false, false, true, true, false)), (String ((Ascii (true, false,
-    false, true, false, true, true, false)), (String ((Ascii (false, false,
-    true, true, false, true, true, false)), (String ((Ascii (true, true,
-    false, false, true, false, true, false)), (String ((Ascii (true, false,
-    true, false, false, true, true, false)), (String ((Ascii (true, false,
-    false, false, true, true, true, false)), (String ((Ascii (true, false,
-    true, false, true, true, true, false)), (String ((Ascii (true, false,
-    true, false, false, true, true, false)), (String ((Ascii (false, true,
-    true, true, false, true, true, false)), (String ((Ascii (true, true,
-    false, false, false, true, true, false)), (String ((Ascii (true, false,
-    true, false, false, true, true, false)), (String ((Ascii (false, true,
-    true, true, false, false, true, false)), (String ((Ascii (true, false,
-    true, false, true, true, true, false)), (String ((Ascii (true, false,
-    true, true, false, true, true, false)), (String ((Ascii (false, true,
-    false, false, false, true, true, false)), (String ((Ascii (true, false,
-    true, false, false, true, true, false)), (String ((Ascii (false, true,
-    false, false, true, true, true, false)),
-    EmptyString)))))))))))))))))))))))))))))))))))))))))))))))))), (S (S (S
-    (S (S (S (S O))))))))) :: [])))))))); l_cuts =
-    ((mkcut O (S O) EmptyString []) :: ((mkcut (S O) (S (S (S O))) (String
-                                          ((Ascii (false, false, true, false,
-                                          true, false, true, false)), (String
-                                          ((Ascii (true, false, false, true,
-                                          true, true, true, false)), (String
-                                          ((Ascii (false, false, false,
-                                          false, true, true, true, false)),
-                                          (String ((Ascii (true, false, true,
-                                          false, false, true, true, false)),
-                                          (String ((Ascii (true, true, false,
-                                          false, false, false, true, false)),
-                                          (String ((Ascii (true, true, true,
-                                          true, false, true, true, false)),
-                                          (String ((Ascii (false, false,
-                                          true, false, false, true, true,
-                                          false)), (String ((Ascii (true,
-                                          false, true, false, false, true,
-                                          true, false)),
-                                          EmptyString)))))))))))))))) []) :: (
-    (mkcut (S (S (S O))) (S (S (S (S (S (S O)))))) (String ((Ascii (false,
-      false, true, false, true, false, true, false)), (String ((Ascii (false,
-      true, false, false, true, true, true, false)), (String ((Ascii (true,
-      false, false, false, false, true, true, false)), (String ((Ascii
-      (false, true, true, true, false, true, true, false)), (String ((Ascii
-      (true, true, false, false, true, true, true, false)), (String ((Ascii
-      (true, false, false, false, false, true, true, false)), (String ((Ascii
-      (true, true, false, false, false, true, true, false)), (String ((Ascii
-      (false, false, true, false, true, true, true, false)), (String ((Ascii
-      (true, false, false, true, false, true, true, false)), (String ((Ascii
-      (true, true, true, true, false, true, true, false)), (String ((Ascii
-      (false, true, true, true, false, true, true, false)), (String ((Ascii
-      (false, false, true, false, true, false, true, false)), (String ((Ascii
-      (true, false, false, true, true, true, true, false)), (String ((Ascii
-      (false, false, false, false, true, true, true, false)), (String ((Ascii
-      (true, false, true, false, false, true, true, false)), (String ((Ascii
-      (true, true, false, false, false, false, true, false)), (String ((Ascii
-      (true, true, true, true, false, true, true, false)), (String ((Ascii
-      (false, false, true, false, false, true, true, false)), (String ((Ascii
-      (true, false, true, false, false, true, true, false)),
-      EmptyString)))))))))))))))))))))))))))))))))))))) []) :: ((mkcut (S (S
-                                                                  (S (S (S (S
-                                                                  O)))))) (S
-                                                                  (S (S (S (S
-                                                                  (S (S (S (S
-                                                                  (S (S (S (S
-                                                                  (S (S (S (S
-                                                                  (S (S (S (S
-                                                                  (S (S (S
-                                                                  O))))))))))))))))))))))))
-                                                                  (String
-                                                                  ((Ascii
-                                                                  (false,
-                                                                  true, true,
-                                                                  false,
-                                                                  false,
-                                                                  false,
-                                                                  true,
-                                                                  false)),
-                                                                  (String
-                                                                  ((Ascii
-                                                                  (true,
-                                                                  true, true,
-                                                                  true,
-                                                                  false,
-                                                                  true, true,
-                                                                  false)),
-                                                                  (String
-                                                                  ((Ascii
-                                                                  (false,
-                                                                  true,
-                                                                  false,
-                                                                  false,
-                                                                  true, true,
-                                                                  true,
-                                                                  false)),
-                                                                  (String
-                                                                  ((Ascii
-                                                                  (true,
-                                                                  false,
-                                                                  true,
-                                                                  false,
-                                                                  false,
-                                                                  true, true,
-                                                                  false)),
-                                                                  (String
-                                                                  ((Ascii
-                                                                  (true,
-                                                                  false,
-                                                                  false,
-                                                                  true,
-                                                                  false,
-                                                                  true, true,
-                                                                  false)),
-                                                                  (String
-                                                                  ((Ascii
-                                                                  (true,
-                                                                  true, true,
-                                                                  false,
-                                                                  false,
-                                                                  true, true,
-                                                                  false)),
-                                                                  (String
-                                                                  ((Ascii
-                                                                  (false,
-                                                                  true, true,
-                                                                  true,
-                                                                  false,
-                                                                  true, true,
-                                                                  false)),
-                                                                  (String
-                                                                  ((Ascii
-                                                                  (false,
-                                                                  false,
-                                                                  false,
-                                                                  false,
-                                                                  true,
-                                                                  false,
-                                                                  true,
-                                                                  false)),
-                                                                  (String
-                                                                  ((Ascii
-                                                                  (true,
-                                                                  false,
-                                                                  false,
-                                                                  false,
-                                                                  false,
-                                                                  true, true,
-                                                                  false)),
-                                                                  (String
-                                                                  ((Ascii
-                                                                  (true,
-                                                                  false,
-                                                                  false,
-                                                                  true, true,
-                                                                  true, true,
-                                                                  false)),
-                                                                  (String
-                                                                  ((Ascii
-                                                                  (true,
-                                                                  false,
-                                                                  true, true,
-                                                                  false,
-                                                                  true, true,
-                                                                  false)),
-                                                                  (String
-                                                                  ((Ascii
-                                                                  (true,
-                                                                  false,
-                                                                  true,
-                                                                  false,
-                                                                  false,
-                                                                  true, true,
-                                                                  false)),
-                                                                  (String
-                                                                  ((Ascii
-                                                                  (false,
-                                                                  true, true,
-                                                                  true,
-                                                                  false,
-                                                                  true, true,
-                                                                  false)),
-                                                                  (String
-                                                                  ((Ascii
-                                                                  (false,
-                                                                  false,
-                                                                  true,
-                                                                  false,
-                                                                  true, true,
-                                                                  true,
-                                                                  false)),
-                                                                  (String
-                                                                  ((Ascii
-                                                                  (true,
-                                                                  false,
-                                                                  false,
-                                                                  false,
-                                                                  false,
-                                                                  false,
-                                                                  true,
-                                                                  false)),
-                                                                  (String
-                                                                  ((Ascii
-                                                                  (true,
-                                                                  false,
-                                                                  true, true,
-                                                                  false,
-                                                                  true, true,
-                                                                  false)),
-                                                                  (String
-                                                                  ((Ascii
-                                                                  (true,
-                                                                  true, true,
-                                                                  true,
-                                                                  false,
-                                                                  true, true,
-                                                                  false)),
-                                                                  (String
-                                                                  ((Ascii
-                                                                  (true,
-                                                                  false,
-                                                                  true,
-                                                                  false,
-                                                                  true, true,
-                                                                  true,
-                                                                  false)),
-                                                                  (String
-                                                                  ((Ascii
-                                                                  (false,
-                                                                  true, true,
-                                                                  true,
-                                                                  false,
-                                                                  true, true,
-                                                                  false)),
-                                                                  (String
-                                                                  ((Ascii
-                                                                  (false,
-                                                                  false,
-                                                                  true,
-                                                                  false,
-                                                                  true, true,
-                                                                  true,
-                                                                  false)),
-                                                                  EmptyString))))))))))))))))))))))))))))))))))))))))
-                                                                  ((String
-                                                                  ((Ascii
-                                                                  (false,
-                                                                  false,
-                                                                  false,
-                                                                  false,
-                                                                  true, true,
-                                                                  true,
-                                                                  false)),
-                                                                  (String
-                                                                  ((Ascii
-                                                                  (true,
-                                                                  false,
-                                                                  false,
-                                                                  false,
-                                                                  false,
-                                                                  true, true,
-                                                                  false)),
-                                                                  (String
-                                                                  ((Ascii
-                                                                  (false,
-                                                                  true,
-                                                                  false,
-                                                                  false,
-                                                                  true, true,
-                                                                  true,
-                                                                  false)),
-                                                                  (String
-                                                                  ((Ascii
-                                                                  (true,
-                                                                  true,
-                                                                  false,
-                                                                  false,
-                                                                  true, true,
-                                                                  true,
-                                                                  false)),
-                                                                  (String
-                                                                  ((Ascii
-                                                                  (true,
-                                                                  false,
-                                                                  true,
-                                                                  false,
-                                                                  false,
-                                                                  true, true,
-                                                                  false)),
-                                                                  (String
-                                                                  ((Ascii
-                                                                  (false,
-                                                                  true, true,
-                                                                  true,
-                                                                  false,
-                                                                  false,
-                                                                  true,
-                                                                  false)),
-                                                                  (String
-                                                                  ((Ascii
-                                                                  (true,
-                                                                  false,
-                                                                  true,
-                                                                  false,
-                                                                  true, true,
-                                                                  true,
-                                                                  false)),
-                                                                  (String
-                                                                  ((Ascii
-                                                                  (true,
-                                                                  false,
-                                                                  true, true,
-                                                                  false,
-                                                                  true, true,
-                                                                  false)),
-                                                                  (String
-                                                                  ((Ascii
-                                                                  (false,
-                                                                  true, true,
-                                                                  false,
-                                                                  false,
-                                                                  false,
-                                                                  true,
-                                                                  false)),
-                                                                  (String
-                                                                  ((Ascii
-                                                                  (true,
-                                                                  false,
-                                                                  false,
-                                                                  true,
-                                                                  false,
-                                                                  true, true,
-                                                                  false)),
-                                                                  (String
-                                                                  ((Ascii
-                                                                  (true,
-                                                                  false,
-                                                                  true,
-                                                                  false,
-                                                                  false,
-                                                                  true, true,
-                                                                  false)),
-                                                                  (String
-                                                                  ((Ascii
-                                                                  (false,
-                                                                  false,
-                                                                  true, true,
-                                                                  false,
-                                                                  true, true,
-                                                                  false)),
-                                                                  (String
-                                                                  ((Ascii
-                                                                  (false,
-                                                                  false,
-                                                                  true,
-                                                                  false,
-                                                                  false,
-                                                                  true, true,
-                                                                  false)),
-                                                                  EmptyString)))))))))))))))))))))))))) :: [])) :: (
-    (mkcut (S (S (S (S (S (S (S (S (S (S (S (S (S (S (S (S (S (S (S (S (S (S
-      (S (S O)))))))))))))))))))))))) (S (S (S (S (S (S (S (S (S (S (S (S (S
-      (S (S (S (S (S (S (S (S (S (S (S (S (S (S (S (S (S (S (S (S (S (S (S (S
-      (S (S (S (S (S (S (S (S (S
-      O)))))))))))))))))))))))))))))))))))))))))))))) (String ((Ascii (false,
-      true, true, false, false, false, true, false)), (String ((Ascii (true,
-      true, true, true, false, true, true, false)), (String ((Ascii (false,
-      true, false, false, true, true, true, false)), (String ((Ascii (true,
-      false, true, false, false, true, true, false)), (String ((Ascii (true,
-      false, false, true, false, true, true, false)), (String ((Ascii (true,
-      true, true, false, false, true, true, false)), (String ((Ascii (false,
-      true, true, true, false, true, true, false)), (String ((Ascii (false,
-      false, true, false, true, false, true, false)), (String ((Ascii (false,
-      true, false, false, true, true, true, false)), (String ((Ascii (true,
-      false, false, false, false, true, true, false)), (String ((Ascii (true,
-      true, false, false, false, true, true, false)), (String ((Ascii (true,
-      false, true, false, false, true, true, false)), (String ((Ascii (false,
-      true, true, true, false, false, true, false)), (String ((Ascii (true,
-      false, true, false, true, true, true, false)), (String ((Ascii (true,
-      false, true, true, false, true, true, false)), (String ((Ascii (false,
-      true, false, false, false, true, true, false)), (String ((Ascii (true,
-      false, true, false, false, true, true, false)), (String ((Ascii (false,
-      true, false, false, true, true, true, false)),
-      EmptyString)))))))))))))))))))))))))))))))))))) ((String ((Ascii (true,
-      true, false, false, true, true, true, false)), (String ((Ascii (false,
-      false, true, false, true, true, true, false)), (String ((Ascii (false,
-      true, false, false, true, true, true, false)), (String ((Ascii (true,
-      false, false, true, false, true, true, false)), (String ((Ascii (false,
-      true, true, true, false, true, true, false)), (String ((Ascii (true,
-      true, true, false, false, true, true, false)), (String ((Ascii (true,
-      true, false, false, true, true, true, false)), (String ((Ascii (false,
-      true, true, true, false, true, false, false)), (String ((Ascii (false,
-      false, true, false, true, false, true, false)), (String ((Ascii (false,
-      true, false, false, true, true, true, false)), (String ((Ascii (true,
-      false, false, true, false, true, true, false)), (String ((Ascii (true,
-      false, true, true, false, true, true, false)), (String ((Ascii (true,
-      true, false, false, true, false, true, false)), (String ((Ascii (false,
-      false, false, false, true, true, true, false)), (String ((Ascii (true,
-      false, false, false, false, true, true, false)), (String ((Ascii (true,
-      true, false, false, false, true, true, false)), (String ((Ascii (true,
-      false, true, false, false, true, true, false)),
-      EmptyString)))))))))))))))))))))))))))))))))) :: [])) :: ((mkcut (S (S
-                                                                  (S (S (S (S
-                                                                  (S (S (S (S
-                                                                  (S (S (S (S
-                                                                  (S (S (S (S
-                                                                  (S (S (S (S
-                                                                  (S (S (S (S
-                                                                  (S (S (S (S
-                                                                  (S (S (S (S
-                                                                  (S (S (S (S
-                                                                  (S (S (S (S
-                                                                  (S (S (S (S
-                                                                  O))))))))))))))))))))))))))))))))))))))))))))))
-                                                                  (S (S (S (S
-                                                                  (S (S (S (S
-                                                                  (S (S (S (S
-                                                                  (S (S (S (S
-                                                                  (S (S (S (S
-                                                                  (S (S (S (S
-                                                                  (S (S (S (S
-                                                                  (S (S (S (S
-                                                                  (S (S (S (S
-                                                                  (S (S (S (S
-                                                                  (S (S (S (S
-                                                                  (S (S (S (S
-                                                                  (S (S (S (S
-                                                                  (S (S (S (S
-                                                                  (S (S (S (S
-                                                                  (S (S (S (S
-                                                                  (S (S (S (S
-                                                                  (S (S (S (S
-                                                                  (S (S (S (S
-                                                                  (S (S (S (S
-                                                                  (S
-                                                                  O)))))))))))))))))))))))))))))))))))))))))))))))))))))))))))))))))))))))))))))))))
-                                                                  (String
-                                                                  ((Ascii
-                                                                  (false,
-                                                                  true, true,
-                                                                  true,
-                                                                  false,
-                                                                  false,
-                                                                  true,
-                                                                  false)),
-                                                                  (String
-                                                                  ((Ascii
-                                                                  (true,
-                                                                  false,
-                                                                  false,
-                                                                  false,
-                                                                  false,
-                                                                  true, true,
-                                                                  false)),
-                                                                  (String
-                                                                  ((Ascii
-                                                                  (true,
-                                                                  false,
-                                                                  true, true,
-                                                                  false,
-                                                                  true, true,
-                                                                  false)),
-                                                                  (String
-                                                                  ((Ascii
-                                                                  (true,
-                                                                  false,
-                                                                  true,
-                                                                  false,
-                                                                  false,
-                                                                  true, true,
-                                                                  false)),
-                                                                  EmptyString))))))))
-                                                                  ((String
-                                                                  ((Ascii
-                                                                  (true,
-                                                                  true,
-                                                                  false,
-                                                                  false,
-                                                                  true, true,
-                                                                  true,
-                                                                  false)),
-                                                                  (String
-                                                                  ((Ascii
-                                                                  (false,
-                                                                  false,
-                                                                  true,
-                                                                  false,
-                                                                  true, true,
-                                                                  true,
-                                                                  false)),
-                                                                  (String
-                                                                  ((Ascii
-                                                                  (false,
-                                                                  true,
-                                                                  false,
-                                                                  false,
-                                                                  true, true,
-                                                                  true,
-                                                                  false)),
-                                                                  (String
-                                                                  ((Ascii
-                                                                  (true,
-                                                                  false,
-                                                                  false,
-                                                                  true,
-                                                                  false,
-                                                                  true, true,
-                                                                  false)),
-                                                                  (String
-                                                                  ((Ascii
-                                                                  (false,
-                                                                  true, true,
-                                                                  true,
-                                                                  false,
-                                                                  true, true,
-                                                                  false)),
-                                                                  (String
-                                                                  ((Ascii
-                                                                  (true,
-                                                                  true, true,
-                                                                  false,
-                                                                  false,
-                                                                  true, true,
-                                                                  false)),
-                                                                  (String
-                                                                  ((Ascii
-                                                                  (true,
-                                                                  true,
-                                                                  false,
-                                                                  false,
-                                                                  true, true,
-                                                                  true,
-                                                                  false)),
-                                                                  (String
-                                                                  ((Ascii
-                                                                  (false,
-                                                                  true, true,
-                                                                  true,
-                                                                  false,
-                                                                  true,
-                                                                  false,
-                                                                  false)),
-                                                                  (String
-                                                                  ((Ascii
-                                                                  (false,
-                                                                  false,
-                                                                  true,
-                                                                  false,
-                                                                  true,
-                                                                  false,
-                                                                  true,
-                                                                  false)),
-                                                                  (String
-                                                                  ((Ascii
-                                                                  (false,
-                                                                  true,
-                                                                  false,
-                                                                  false,
-                                                                  true, true,
-                                                                  true,
-                                                                  false)),
-                                                                  (String
-                                                                  ((Ascii
-                                                                  (true,
-                                                                  false,
-                                                                  false,
-                                                                  true,
-                                                                  false,
-                                                                  true, true,
-                                                                  false)),
-                                                                  (String
-                                                                  ((Ascii
-                                                                  (true,
-                                                                  false,
-                                                                  true, true,
-                                                                  false,
-                                                                  true, true,
-                                                                  false)),
-                                                                  (String
-                                                                  ((Ascii
-                                                                  (true,
-                                                                  true,
-                                                                  false,
-                                                                  false,
-                                                                  true,
-                                                                  false,
-                                                                  true,
-                                                                  false)),
-                                                                  (String
-                                                                  ((Ascii
-                                                                  (false,
-                                                                  false,
-                                                                  false,
-                                                                  false,
-                                                                  true, true,
-                                                                  true,
-                                                                  false)),
-                                                                  (String
-                                                                  ((Ascii
-                                                                  (true,
-                                                                  false,
-                                                                  false,
-                                                                  false,
-                                                                  false,
-                                                                  true, true,
-                                                                  false)),
-                                                                  (String
-                                                                  ((Ascii
-                                                                  (true,
-                                                                  true,
-                                                                  false,
-                                                                  false,
-                                                                  false,
-                                                                  true, true,
-                                                                  false)),
-                                                                  (String
-                                                                  ((Ascii
-                                                                  (true,
-                                                                  false,
-                                                                  true,
-                                                                  false,
-                                                                  false,
-                                                                  true, true,
-                                                                  false)),
-                                                                  EmptyString)))))))))))))))))))))))))))))))))) :: [])) :: (
-    (mkcut (S (S (S (S (S (S (S (S (S (S (S (S (S (S (S (S (S (S (S (S (S (S
-      (S (S (S (S (S (S (S (S (S (S (S (S (S (S (S (S (S (S (S (S (S (S (S (S
-      (S (S (S (S (S (S (S (S (S (S (S (S (S (S (S (S (S (S (S (S (S (S (S (S
-      (S (S (S (S (S (S (S (S (S (S (S
-      O)))))))))))))))))))))))))))))))))))))))))))))))))))))))))))))))))))))))))))))))))
-      (S (S (S (S (S (S (S (S (S (S (S (S (S (S (S (S (S (S (S (S (S (S (S (S
-      (S (S (S (S (S (S (S (S (S (S (S (S (S (S (S (S (S (S (S (S (S (S (S (S
-      (S (S (S (S (S (S (S (S (S (S (S (S (S (S (S (S (S (S (S (S (S (S (S (S
-      (S (S (S (S (S (S (S (S (S (S (S (S (S (S (S
-      O)))))))))))))))))))))))))))))))))))))))))))))))))))))))))))))))))))))))))))))))))))))))
-      EmptyString []) :: ((mkcut (S (S (S (S (S (S (S (S (S (S (S (S (S (S (S
-                            (S (S (S (S (S (S (S (S (S (S (S (S (S (S (S (S
-                            (S (S (S (S (S (S (S (S (S (S (S (S (S (S (S (S
-                            (S (S (S (S (S (S (S (S (S (S (S (S (S (S (S (S
-                            (S (S (S (S (S (S (S (S (S (S (S (S (S (S (S (S
-                            (S (S (S (S (S (S (S (S
-                            O)))))))))))))))))))))))))))))))))))))))))))))))))))))))))))))))))))))))))))))))))))))))
-                            (S (S (S (S (S (S (S (S (S (S (S (S (S (S (S (S
-                            (S (S (S (S (S (S (S (S (S (S (S (S (S (S (S (S
-                            (S (S (S (S (S (S (S (S (S (S (S (S (S (S (S (S
-                            (S (S (S (S (S (S (S (S (S (S (S (S (S (S (S (S
-                            (S (S (S (S (S (S (S (S (S (S (S (S (S (S (S (S
-                            (S (S (S (S (S (S (S (S (S (S (S (S (S (S
-                            O))))))))))))))))))))))))))))))))))))))))))))))))))))))))))))))))))))))))))))))))))))))))))))))
-                            (String ((Ascii (true, false, true, false, false,
-                            false, true, false)), (String ((Ascii (false,
-                            true, true, true, false, true, true, false)),
-                            (String ((Ascii (false, false, true, false, true,
-                            true, true, false)), (String ((Ascii (false,
-                            true, false, false, true, true, true, false)),
-                            (String ((Ascii (true, false, false, true, true,
-                            true, true, false)), (String ((Ascii (false,
-                            false, true, false, false, false, true, false)),
-                            (String ((Ascii (true, false, true, false, false,
-                            true, true, false)), (String ((Ascii (false,
-                            false, true, false, true, true, true, false)),
-                            (String ((Ascii (true, false, false, false,
-                            false, true, true, false)), (String ((Ascii
-                            (true, false, false, true, false, true, true,
-                            false)), (String ((Ascii (false, false, true,
-                            true, false, true, true, false)), (String ((Ascii
-                            (true, true, false, false, true, false, true,
-                            false)), (String ((Ascii (true, false, true,
-                            false, false, true, true, false)), (String
-                            ((Ascii (true, false, false, false, true, true,
-                            true, false)), (String ((Ascii (true, false,
-                            true, false, true, true, true, false)), (String
-                            ((Ascii (true, false, true, false, false, true,
-                            true, false)), (String ((Ascii (false, true,
-                            true, true, false, true, true, false)), (String
-                            ((Ascii (true, true, false, false, false, true,
-                            true, false)), (String ((Ascii (true, false,
-                            true, false, false, true, true, false)), (String
-                            ((Ascii (false, true, true, true, false, false,
-                            true, false)), (String ((Ascii (true, false,
-                            true, false, true, true, true, false)), (String
-                            ((Ascii (true, false, true, true, false, true,
-                            true, false)), (String ((Ascii (false, true,
-                            false, false, false, true, true, false)), (String
-                            ((Ascii (true, false, true, false, false, true,
-                            true, false)), (String ((Ascii (false, true,
-                            false, false, true, true, true, false)),
-                            EmptyString))))))))))))))))))))))))))))))))))))))))))))))))))
-                            ((String ((Ascii (false, false, false, false,
-                            true, true, true, false)), (String ((Ascii (true,
-                            false, false, false, false, true, true, false)),
-                            (String ((Ascii (false, true, false, false, true,
-                            true, true, false)), (String ((Ascii (true, true,
-                            false, false, true, true, true, false)), (String
-                            ((Ascii (true, false, true, false, false, true,
-                            true, false)), (String ((Ascii (false, true,
-                            true, true, false, false, true, false)), (String
-                            ((Ascii (true, false, true, false, true, true,
-                            true, false)), (String ((Ascii (true, false,
-                            true, true, false, true, true, false)), (String
-                            ((Ascii (false, true, true, false, false, false,
-                            true, false)), (String ((Ascii (true, false,
-                            false, true, false, true, true, false)), (String
-                            ((Ascii (true, false, true, false, false, true,
-                            true, false)), (String ((Ascii (false, false,
-                            true, true, false, true, true, false)), (String
-                            ((Ascii (false, false, true, false, false, true,
-                            true, false)),
-                            EmptyString)))))))))))))))))))))))))) :: [])) :: [])))))))) }
+let seg_scc_std =
+  { sc_code = (Zpos (XO (XO (XO (XI (XO (XO (XI XH)))))))); sc_kind = (SSplit
+    ((Zpos (XO (XO (XI (XI (XI (XO (XI XH)))))))), (Zpos (XI (XO (XO (XO (XO
+    (XI (XI XH)))))))))) } :: ({ sc_code = (Zpos (XO (XO (XI (XI (XI (XO (XI
+    XH)))))))); sc_kind = SReuseCredit } :: ({ sc_code = (Zpos (XI (XO (XO
+    (XO (XO (XI (XI XH)))))))); sc_kind = SReuseDebit } :: []))
 
-(** val l_Addenda11 : layout **)
+(** val seg_scc_iat : scc_arm list **)
 
-let l_Addenda11 =
-  { l_name = (String ((Ascii (true, false, false, false, false, false, true,
-    false)), (String ((Ascii (false, false, true, false, false, true, true,
-    false)), (String ((Ascii (false, false, true, false, false, true, true,
-    false)), (String ((Ascii (true, false, true, false, false, true, true,
-    false)), (String ((Ascii (false, true, true, true, false, true, true,
-    false)), (String ((Ascii (false, false, true, false, false, true, true,
-    false)), (String ((Ascii (true, false, false, false, false, true, true,
-    false)), (String ((Ascii (true, false, false, false, true, true, false,
-    false)), (String ((Ascii (true, false, false, false, true, true, false,
-    false)), EmptyString)))))))))))))))))); l_ix = IRune; l_segs = ((SLit
-    ((Npos (XI (XI (XI (XO (XI XH)))))) :: [])) :: ((SRaw (String ((Ascii
-    (false, false, true, false, true, false, true, false)), (String ((Ascii
-    (true, false, false, true, true, true, true, false)), (String ((Ascii
-    (false, false, false, false, true, true, true, false)), (String ((Ascii
-    (true, false, true, false, false, true, true, false)), (String ((Ascii
-    (true, true, false, false, false, false, true, false)), (String ((Ascii
-    (true, true, true, true, false, true, true, false)), (String ((Ascii
-    (false, false, true, false, false, true, true, false)), (String ((Ascii
-    (true, false, true, false, false, true, true, false)),
-    EmptyString))))))))))))))))) :: ((SAlpha ((String ((Ascii (true, true,
-    true, true, false, false, true, false)), (String ((Ascii (false, true,
-    false, false, true, true, true, false)), (String ((Ascii (true, false,
-    false, true, false, true, true, false)), (String ((Ascii (true, true,
-    true, false, false, true, true, false)), (String ((Ascii (true, false,
-    false, true, false, true, true, false)), (String ((Ascii (false, true,
-    true, true, false, true, true, false)), (String ((Ascii (true, false,
-    false, false, false, true, true, false)), (String ((Ascii (false, false,
-    true, false, true, true, true, false)), (String ((Ascii (true, true,
-    true, true, false, true, true, false)), (String ((Ascii (false, true,
-    false, false, true, true, true, false)), (String ((Ascii (false, true,
-    true, true, false, false, true, false)), (String ((Ascii (true, false,
-    false, false, false, true, true, false)), (String ((Ascii (true, false,
-    true, true, false, true, true, false)), (String ((Ascii (true, false,
-    true, false, false, true, true, false)),
-    EmptyString)))))))))))))))))))))))))))), (S (S (S (S (S (S (S (S (S (S (S
-    (S (S (S (S (S (S (S (S (S (S (S (S (S (S (S (S (S (S (S (S (S (S (S (S
-    O))))))))))))))))))))))))))))))))))))) :: ((SAlpha ((String ((Ascii
-    (true, true, true, true, false, false, true, false)), (String ((Ascii
-    (false, true, false, false, true, true, true, false)), (String ((Ascii
-    (true, false, false, true, false, true, true, false)), (String ((Ascii
-    (true, true, true, false, false, true, true, false)), (String ((Ascii
-    (true, false, false, true, false, true, true, false)), (String ((Ascii
-    (false, true, true, true, false, true, true, false)), (String ((Ascii
-    (true, false, false, false, false, true, true, false)), (String ((Ascii
-    (false, false, true, false, true, true, true, false)), (String ((Ascii
-    (true, true, true, true, false, true, true, false)), (String ((Ascii
-    (false, true, false, false, true, true, true, false)), (String ((Ascii
-    (true, true, false, false, true, false, true, false)), (String ((Ascii
-    (false, false, true, false, true, true, true, false)), (String ((Ascii
-    (false, true, false, false, true, true, true, false)), (String ((Ascii
-    (true, false, true, false, false, true, true, false)), (String ((Ascii
-    (true, false, true, false, false, true, true, false)), (String ((Ascii
-    (false, false, true, false, true, true, true, false)), (String ((Ascii
-    (true, false, false, false, false, false, true, false)), (String ((Ascii
-    (false, false, true, false, false, true, true, false)), (String ((Ascii
-    (false, false, true, false, false, true, true, false)), (String ((Ascii
-    (false, true, false, false, true, true, true, false)), (String ((Ascii
-    (true, false, true, false, false, true, true, false)), (String ((Ascii
-    (true, true, false, false, true, true, true, false)), (String ((Ascii
-    (true, true, false, false, true, true, true, false)),
-    EmptyString)))))))))))))))))))))))))))))))))))))))))))))), (S (S (S (S (S
-    (S (S (S (S (S (S (S (S (S (S (S (S (S (S (S (S (S (S (S (S (S (S (S (S
-    (S (S (S (S (S (S O))))))))))))))))))))))))))))))))))))) :: ((SLit ((Npos
-    (XO (XO (XO (XO (XO XH)))))) :: ((Npos (XO (XO (XO (XO (XO
-    XH)))))) :: ((Npos (XO (XO (XO (XO (XO XH)))))) :: ((Npos (XO (XO (XO (XO
-    (XO XH)))))) :: ((Npos (XO (XO (XO (XO (XO XH)))))) :: ((Npos (XO (XO (XO
-    (XO (XO XH)))))) :: ((Npos (XO (XO (XO (XO (XO XH)))))) :: ((Npos (XO (XO
-    (XO (XO (XO XH)))))) :: ((Npos (XO (XO (XO (XO (XO XH)))))) :: ((Npos (XO
-    (XO (XO (XO (XO XH)))))) :: ((Npos (XO (XO (XO (XO (XO XH)))))) :: ((Npos
-    (XO (XO (XO (XO (XO XH)))))) :: ((Npos (XO (XO (XO (XO (XO
-    XH)))))) :: ((Npos (XO (XO (XO (XO (XO
-    XH)))))) :: []))))))))))))))) :: ((SNum ((String ((Ascii (true, false,
-    true, false, false, false, true, false)), (String ((Ascii (false, true,
-    true, true, false, true, true, false)), (String ((Ascii (false, false,
-    true, false, true, true, true, false)), (String ((Ascii (false, true,
-    false, false, true, true, true, false)), (String ((Ascii (true, false,
-    false, true, true, true, true, false)), (String ((Ascii (false, false,
-    true, false, false, false, true, false)), (String ((Ascii (true, false,
-    true, false, false, true, true, false)), (String ((Ascii (false, false,
-    true, false, true, true, true, false)), (String ((Ascii (true, false,
-    false, false, false, true, true, false)), (String ((Ascii (true, false,
-    false, true, false, true, true, false)), (String ((Ascii (false, false,
-    true, true, false, true, true, false)), (String ((Ascii (true, true,
-    false, false, true, false, true, false)), (String ((Ascii (true, false,
-    true, false, false, true, true, false)), (String ((Ascii (true, false,
-    false, false, true, true, true, false)), (String ((Ascii (true, false,
-    true, false, true, true, true, false)), (String ((Ascii (true, false,
-    true, false, false, true, true, false)), (String ((Ascii (false, true,
-    true, true, false, true, true, false)), (String ((Ascii (true, true,
-    false, false, false, true, true, false)), (String ((Ascii (true, false,
-    true, false, false, true, true, false)), (String ((Ascii (false, true,
-    true, true, false, false, true, false)), (String ((Ascii (true, false,
-    true, false, true, true, true, false)), (String ((Ascii (true, false,
-    true, true, false, true, true, false)), (String ((Ascii (false, true,
-    false, false, false, true, true, false)), (String ((Ascii (true, false,
-    true, false, false, true, true, false)), (String ((Ascii (false, true,
-    false, false, true, true, true, false)),
-    EmptyString)))))))))))))))))))))))))))))))))))))))))))))))))), (S (S (S
-    (S (S (S (S O))))))))) :: [])))))); l_cuts =
-    ((mkcut O (S O) EmptyString []) :: ((mkcut (S O) (S (S (S O))) (String
-                                          ((Ascii (false, false, true, false,
-                                          true, false, true, false)), (String
-                                          ((Ascii (true, false, false, true,
-                                          true, true, true, false)), (String
-                                          ((Ascii (false, false, false,
-                                          false, true, true, true, false)),
-                                          (String ((Ascii (true, false, true,
-                                          false, false, true, true, false)),
-                                          (String ((Ascii (true, true, false,
-                                          false, false, false, true, false)),
-                                          (String ((Ascii (true, true, true,
-                                          true, false, true, true, false)),
-                                          (String ((Ascii (false, false,
-                                          true, false, false, true, true,
-                                          false)), (String ((Ascii (true,
-                                          false, true, false, false, true,
-                                          true, false)),
-                                          EmptyString)))))))))))))))) []) :: (
-    (mkcut (S (S (S O))) (S (S (S (S (S (S (S (S (S (S (S (S (S (S (S (S (S
-      (S (S (S (S (S (S (S (S (S (S (S (S (S (S (S (S (S (S (S (S (S
-      O)))))))))))))))))))))))))))))))))))))) (String ((Ascii (true, true,
-      true, true, false, false, true, false)), (String ((Ascii (false, true,
-      false, false, true, true, true, false)), (String ((Ascii (true, false,
-      false, true, false, true, true, false)), (String ((Ascii (true, true,
-      true, false, false, true, true, false)), (String ((Ascii (true, false,
-      false, true, false, true, true, false)), (String ((Ascii (false, true,
-      true, true, false, true, true, false)), (String ((Ascii (true, false,
-      false, false, false, true, true, false)), (String ((Ascii (false,
-      false, true, false, true, true, true, false)), (String ((Ascii (true,
-      true, true, true, false, true, true, false)), (String ((Ascii (false,
-      true, false, false, true, true, true, false)), (String ((Ascii (false,
-      true, true, true, false, false, true, false)), (String ((Ascii (true,
-      false, false, false, false, true, true, false)), (String ((Ascii (true,
-      false, true, true, false, true, true, false)), (String ((Ascii (true,
-      false, true, false, false, true, true, false)),
-      EmptyString)))))))))))))))))))))))))))) ((String ((Ascii (true, true,
-      false, false, true, true, true, false)), (String ((Ascii (false, false,
-      true, false, true, true, true, false)), (String ((Ascii (false, true,
-      false, false, true, true, true, false)), (String ((Ascii (true, false,
-      false, true, false, true, true, false)), (String ((Ascii (false, true,
-      true, true, false, true, true, false)), (String ((Ascii (true, true,
-      true, false, false, true, true, false)), (String ((Ascii (true, true,
-      false, false, true, true, true, false)), (String ((Ascii (false, true,
-      true, true, false, true, false, false)), (String ((Ascii (false, false,
-      true, false, true, false, true, false)), (String ((Ascii (false, true,
-      false, false, true, true, true, false)), (String ((Ascii (true, false,
-      false, true, false, true, true, false)), (String ((Ascii (true, false,
-      true, true, false, true, true, false)), (String ((Ascii (true, true,
-      false, false, true, false, true, false)), (String ((Ascii (false,
-      false, false, false, true, true, true, false)), (String ((Ascii (true,
-      false, false, false, false, true, true, false)), (String ((Ascii (true,
-      true, false, false, false, true, true, false)), (String ((Ascii (true,
-      false, true, false, false, true, true, false)),
-      EmptyString)))))))))))))))))))))))))))))))))) :: [])) :: ((mkcut (S (S
-                                                                  (S (S (S (S
-                                                                  (S (S (S (S
-                                                                  (S (S (S (S
-                                                                  (S (S (S (S
-                                                                  (S (S (S (S
-                                                                  (S (S (S (S
-                                                                  (S (S (S (S
-                                                                  (S (S (S (S
-                                                                  (S (S (S (S
-                                                                  O))))))))))))))))))))))))))))))))))))))
-                                                                  (S (S (S (S
-                                                                  (S (S (S (S
-                                                                  (S (S (S (S
-                                                                  (S (S (S (S
-                                                                  (S (S (S (S
-                                                                  (S (S (S (S
-                                                                  (S (S (S (S
-                                                                  (S (S (S (S
-                                                                  (S (S (S (S
-                                                                  (S (S (S (S
-                                                                  (S (S (S (S
-                                                                  (S (S (S (S
-                                                                  (S (S (S (S
-                                                                  (S (S (S (S
-                                                                  (S (S (S (S
-                                                                  (S (S (S (S
-                                                                  (S (S (S (S
-                                                                  (S (S (S (S
-                                                                  (S
-                                                                  O)))))))))))))))))))))))))))))))))))))))))))))))))))))))))))))))))))))))))
-                                                                  (String
-                                                                  ((Ascii
-                                                                  (true,
-                                                                  true, true,
-                                                                  true,
-                                                                  false,
-                                                                  false,
-                                                                  true,
-                                                                  false)),
-                                                                  (String
-                                                                  ((Ascii
-                                                                  (false,
-                                                                  true,
-                                                                  false,
-                                                                  false,
-                                                                  true, true,
-                                                                  true,
-                                                                  false)),
-                                                                  (String
-                                                                  ((Ascii
-                                                                  (true,
-                                                                  false,
-                                                                  false,
-                                                                  true,
-                                                                  false,
-                                                                  true, true,
-                                                                  false)),
-                                                                  (String
-                                                                  ((Ascii
-                                                                  (true,
-                                                                  true, true,
-                                                                  false,
-                                                                  false,
-                                                                  true, true,
-                                                                  false)),
-                                                                  (String
-                                                                  ((Ascii
-                                                                  (true,
-                                                                  false,
-                                                                  false,
-                                                                  true,
-                                                                  false,
-                                                                  true, true,
-                                                                  false)),
-                                                                  (String
-                                                                  ((Ascii
-                                                                  (false,
-                                                                  true, true,
-                                                                  true,
-                                                                  false,
-                                                                  true, true,
-                                                                  false)),
-                                                                  (String
-                                                                  ((Ascii
-                                                                  (true,
-                                                                  false,
-                                                                  false,
-                                                                  false,
-                                                                  false,
-                                                                  true, true,
-                                                                  false)),
-                                                                  (String
-                                                                  ((Ascii
-                                                                  (false,
-                                                                  false,
-                                                                  true,
-                                                                  false,
-                                                                  true, true,
-                                                                  true,
-                                                                  false)),
-                                                                  (String
-                                                                  ((Ascii
-                                                                  (true,
-                                                                  true, true,
-                                                                  true,
-                                                                  false,
-                                                                  true, true,
-                                                                  false)),
-                                                                  (String
-                                                                  ((Ascii
-                                                                  (false,
-                                                                  true,
-                                                                  false,
-                                                                  false,
-                                                                  true, true,
-                                                                  true,
-                                                                  false)),
-                                                                  (String
-                                                                  ((Ascii
-                                                                  (true,
-                                                                  true,
-                                                                  false,
-                                                                  false,
-                                                                  true,
-                                                                  false,
-                                                                  true,
-                                                                  false)),
-                                                                  (String
-                                                                  ((Ascii
-                                                                  (false,
-                                                                  false,
-                                                                  true,
-                                                                  false,
-                                                                  true, true,
-                                                                  true,
-                                                                  false)),
-                                                                  (String
-                                                                  ((Ascii
-                                                                  (false,
-                                                                  true,
-                                                                  false,
-                                                                  false,
-                                                                  true, true,
-                                                                  true,
-                                                                  false)),
-                                                                  (String
-                                                                  ((Ascii
-                                                                  (true,
-                                                                  false,
-                                                                  true,
-                                                                  false,
-                                                                  false,
-                                                                  true, true,
-                                                                  false)),
-                                                                  (String
-                                                                  ((Ascii
-                                                                  (true,
-                                                                  false,
-                                                                  true,
-                                                                  false,
-                                                                  false,
-                                                                  true, true,
-                                                                  false)),
-                                                                  (String
-                                                                  ((Ascii
-                                                                  (false,
-                                                                  false,
-                                                                  true,
-                                                                  false,
-                                                                  true, true,
-                                                                  true,
-                                                                  false)),
-                                                                  (String
-                                                                  ((Ascii
-                                                                  (true,
-                                                                  false,
-                                                                  false,
-                                                                  false,
-                                                                  false,
-                                                                  false,
-                                                                  true,
-                                                                  false)),
-                                                                  (String
-                                                                  ((Ascii
-                                                                  (false,
-                                                                  false,
-                                                                  true,
-                                                                  false,
-                                                                  false,
-                                                                  true, true,
-                                                                  false)),
-                                                                  (String
-                                                                  ((Ascii
-                                                                  (false,
-                                                                  false,
-                                                                  true,
-                                                                  false,
-                                                                  false,
-                                                                  true, true,
-                                                                  false)),
-                                                                  (String
-                                                                  ((Ascii
-                                                                  (false,
-                                                                  true,
-                                                                  false,
-                                                                  false,
-                                                                  true, true,
-                                                                  true,
-                                                                  false)),
-                                                                  (String
-                                                                  ((Ascii
-                                                                  (true,
-                                                                  false,
-                                                                  true,
-                                                                  false,
-                                                                  false,
-                                                                  true, true,
-                                                                  false)),
-                                                                  (String
-                                                                  ((Ascii
-                                                                  (true,
-                                                                  true,
-                                                                  false,
-                                                                  false,
-                                                                  true, true,
-                                                                  true,
-                                                                  false)),
-                                                                  (String
-                                                                  ((Ascii
-                                                                  (true,
-                                                                  true,
-                                                                  false,
-                                                                  false,
-                                                                  true, true,
-                                                                  true,
-                                                                  false)),
-                                                                  EmptyString))))))))))))))))))))))))))))))))))))))))))))))
-                                                                  ((String
-                                                                  ((Ascii
-                                                                  (true,
-                                                                  true,
-                                                                  false,
-                                                                  false,
-                                                                  true, true,
-                                                                  true,
-                                                                  false)),
-                                                                  (String
-                                                                  ((Ascii
-                                                                  (false,
-                                                                  false,
-                                                                  true,
-                                                                  false,
-                                                                  true, true,
-                                                                  true,
-                                                                  false)),
-                                                                  (String
-                                                                  ((Ascii
-                                                                  (false,
-                                                                  true,
-                                                                  false,
-                                                                  false,
-                                                                  true, true,
-                                                                  true,
-                                                                  false)),
-                                                                  (String
-                                                                  ((Ascii
-                                                                  (true,
-                                                                  false,
-                                                                  false,
-                                                                  true,
-                                                                  false,
-                                                                  true, true,
-                                                                  false)),
-                                                                  (String
-                                                                  ((Ascii
-                                                                  (false,
-                                                                  true, true,
-                                                                  true,
-                                                                  false,
-                                                                  true, true,
-                                                                  false)),
-                                                                  (String
-                                                                  ((Ascii
-                                                                  (true,
-                                                                  true, true,
-                                                                  false,
-                                                                  false,
-                                                                  true, true,
-                                                                  false)),
-                                                                  (String
-                                                                  ((Ascii
-                                                                  (true,
-                                                                  true,
-                                                                  false,
-                                                                  false,
-                                                                  true, true,
-                                                                  true,
-                                                                  false)),
-                                                                  (String
-                                                                  ((Ascii
-                                                                  (false,
-                                                                  true, true,
-                                                                  true,
-                                                                  false,
-                                                                  true,
-                                                                  false,
-                                                                  false)),
-                                                                  (String
-                                                                  ((Ascii
-                                                                  (false,
-                                                                  false,
-                                                                  true,
-                                                                  false,
-                                                                  true,
-                                                                  false,
-                                                                  true,
-                                                                  false)),
-                                                                  (String
-                                                                  ((Ascii
-                                                                  (false,
-                                                                  true,
-                                                                  false,
-                                                                  false,
-                                                                  true, true,
-                                                                  true,
-                                                                  false)),
-                                                                  (String
-                                                                  ((Ascii
-                                                                  (true,
-                                                                  false,
-                                                                  false,
-                                                                  true,
-                                                                  false,
-                                                                  true, true,
-                                                                  false)),
-                                                                  (String
-                                                                  ((Ascii
-                                                                  (true,
-                                                                  false,
-                                                                  true, true,
-                                                                  false,
-                                                                  true, true,
-                                                                  false)),
-                                                                  (String
-                                                                  ((Ascii
-                                                                  (true,
-                                                                  true,
-                                                                  false,
-                                                                  false,
-                                                                  true,
-                                                                  false,
-                                                                  true,
-                                                                  false)),
-                                                                  (String
-                                                                  ((Ascii
-                                                                  (false,
-                                                                  false,
-                                                                  false,
-                                                                  false,
-                                                                  true, true,
-                                                                  true,
-                                                                  false)),
-                                                                  (String
-                                                                  ((Ascii
-                                                                  (true,
-                                                                  false,
-                                                                  false,
-                                                                  false,
-                                                                  false,
-                                                                  true, true,
-                                                                  false)),
-                                                                  (String
-                                                                  ((Ascii
-                                                                  (true,
-                                                                  true,
-                                                                  false,
-                                                                  false,
-                                                                  false,
-                                                                  true, true,
-                                                                  false)),
-                                                                  (String
-                                                                  ((Ascii
-                                                                  (true,
-                                                                  false,
-                                                                  true,
-                                                                  false,
-                                                                  false,
-                                                                  true, true,
-                                                                  false)),
-                                                                  EmptyString)))))))))))))))))))))))))))))))))) :: [])) :: (
-    (mkcut (S (S (S (S (S (S (S (S (S (S (S (S (S (S (S (S (S (S (S (S (S (S
-      (S (S (S (S (S (S (S (S (S (S (S (S (S (S (S (S (S (S (S (S (S (S (S (S
-      (S (S (S (S (S (S (S (S (S (S (S (S (S (S (S (S (S (S (S (S (S (S (S (S
-      (S (S (S
-      O)))))))))))))))))))))))))))))))))))))))))))))))))))))))))))))))))))))))))
-      (S (S (S (S (S (S (S (S (S (S (S (S (S (S (S (S (S (S (S (S (S (S (S (S
-      (S (S (S (S (S (S (S (S (S (S (S (S (S (S (S (S (S (S (S (S (S (S (S (S
-      (S (S (S (S (S (S (S (S (S (S (S (S (S (S (S (S (S (S (S (S (S (S (S (S
-      (S (S (S (S (S (S (S (S (S (S (S (S (S (S (S
-      O)))))))))))))))))))))))))))))))))))))))))))))))))))))))))))))))))))))))))))))))))))))))
-      EmptyString []) :: ((mkcut (S (S (S (S (S (S (S (S (S (S (S (S (S (S (S
-                            (S (S (S (S (S (S (S (S (S (S (S (S (S (S (S (S
-                            (S (S (S (S (S (S (S (S (S (S (S (S (S (S (S (S
-                            (S (S (S (S (S (S (S (S (S (S (S (S (S (S (S (S
-                            (S (S (S (S (S (S (S (S (S (S (S (S (S (S (S (S
-                            (S (S (S (S (S (S (S (S
-                            O)))))))))))))))))))))))))))))))))))))))))))))))))))))))))))))))))))))))))))))))))))))))
-                            (S (S (S (S (S (S (S (S (S (S (S (S (S (S (S (S
-                            (S (S (S (S (S (S (S (S (S (S (S (S (S (S (S (S
-                            (S (S (S (S (S (S (S (S (S (S (S (S (S (S (S (S
-                            (S (S (S (S (S (S (S (S (S (S (S (S (S (S (S (S
-                            (S (S (S (S (S (S (S (S (S (S (S (S (S (S (S (S
-                            (S (S (S (S (S (S (S (S (S (S (S (S (S (S
-                            O))))))))))))))))))))))))))))))))))))))))))))))))))))))))))))))))))))))))))))))))))))))))))))))
-                            (String ((Ascii (true, false, true, false, false,
-                            false, true, false)), (String ((Ascii (false,
-                            true, true, true, false, true, true, false)),
-                            (String ((Ascii (false, false, true, false, true,
-                            true, true, false)), (String ((Ascii (false,
-                            true, false, false, true, true, true, false)),
-                            (String ((Ascii (true, false, false, true, true,
-                            true, true, false)), (String ((Ascii (false,
-                            false, true, false, false, false, true, false)),
-                            (String ((Ascii (true, false, true, false, false,
-                            true, true, false)), (String ((Ascii (false,
-                            false, true, false, true, true, true, false)),
-                            (String ((Ascii (true, false, false, false,
-                            false, true, true, false)), (String ((Ascii
-                            (true, false, false, true, false, true, true,
-                            false)), (String ((Ascii (false, false, true,
-                            true, false, true, true, false)), (String ((Ascii
-                            (true, true, false, false, true, false, true,
-                            false)), (String ((Ascii (true, false, true,
-                            false, false, true, true, false)), (String
-                            ((Ascii (true, false, false, false, true, true,
-                            true, false)), (String ((Ascii (true, false,
-                            true, false, true, true, true, false)), (String
-                            ((Ascii (true, false, true, false, false, true,
-                            true, false)), (String ((Ascii (false, true,
-                            true, true, false, true, true, false)), (String
-                            ((Ascii (true, true, false, false, false, true,
-                            true, false)), (String ((Ascii (true, false,
-                            true, false, false, true, true, false)), (String
-                            ((Ascii (false, true, true, true, false, false,
-                            true, false)), (String ((Ascii (true, false,
-                            true, false, true, true, true, false)), (String
-                            ((Ascii (true, false, true, true, false, true,
-                            true, false)), (String ((Ascii (false, true,
-                            false, false, false, true, true, false)), (String
-                            ((Ascii (true, false, true, false, false, true,
-                            true, false)), (String ((Ascii (false, true,
-                            false, false, true, true, true, false)),
-                            EmptyString))))))))))))))))))))))))))))))))))))))))))))))))))
-                            ((String ((Ascii (false, false, false, false,
-                            true, true, true, false)), (String ((Ascii (true,
-                            false, false, false, false, true, true, false)),
-                            (String ((Ascii (false, true, false, false, true,
-                            true, true, false)), (String ((Ascii (true, true,
-                            false, false, true, true, true, false)), (String
-                            ((Ascii (true, false, true, false, false, true,
-                            true, false)), (String ((Ascii (false, true,
-                            true, true, false, false, true, false)), (String
-                            ((Ascii (true, false, true, false, true, true,
-                            true, false)), (String ((Ascii (true, false,
-                            true, true, false, true, true, false)), (String
-                            ((Ascii (false, true, true, false, false, false,
-                            true, false)), (String ((Ascii (true, false,
-                            false, true, false, true, true, false)), (String
-                            ((Ascii (true, false, true, false, false, true,
-                            true, false)), (String ((Ascii (false, false,
-                            true, true, false, true, true, false)), (String
-                            ((Ascii (false, false, true, false, false, true,
-                            true, false)),
-                            EmptyString)))))))))))))))))))))))))) :: [])) :: [])))))) }
+let seg_scc_iat =
+  { sc_code = (Zpos (XO (XO (XO (XI (XO (XO (XI XH)))))))); sc_kind = (SSplit
+    ((Zpos (XO (XO (XI (XI (XI (XO (XI XH)))))))), (Zpos (XI (XO (XO (XO (XO
+    (XI (XI XH)))))))))) } :: ({ sc_code = (Zpos (XO (XO (XI (XI (XI (XO (XI
+    XH)))))))); sc_kind = SReuseCredit } :: ({ sc_code = (Zpos (XI (XO (XO
+    (XO (XO (XI (XI XH)))))))); sc_kind = SReuseDebit } :: []))
 
-(** val l_Addenda12 : layout **)
+(** val sT : stables **)
 
-let l_Addenda12 =
-  { l_name = (String ((Ascii (true, false, false, false, false, false, true,
-    false)), (String ((Ascii (false, false, true, false, false, true, true,
-    false)), (String ((Ascii (false, false, true, false, false, true, true,
-    false)), (String ((Ascii (true, false, true, false, false, true, true,
-    false)), (String ((Ascii (false, true, true, true, false, true, true,
-    false)), (String ((Ascii (false, false, true, false, false, true, true,
-    false)), (String ((Ascii (true, false, false, false, false, true, true,
-    false)), (String ((Ascii (true, false, false, false, true, true, false,
-    false)), (String ((Ascii (false, true, false, false, true, true, false,
-    false)), EmptyString)))))))))))))))))); l_ix = IRune; l_segs = ((SLit
-    ((Npos (XI (XI (XI (XO (XI XH)))))) :: [])) :: ((SRaw (String ((Ascii
-    (false, false, true, false, true, false, true, false)), (String ((Ascii
-    (true, false, false, true, true, true, true, false)), (String ((Ascii
-    (false, false, false, false, true, true, true, false)), (String ((Ascii
-    (true, false, true, false, false, true, true, false)), (String ((Ascii
-    (true, true, false, false, false, false, true, false)), (String ((Ascii
-    (true, true, true, true, false, true, true, false)), (String ((Ascii
-    (false, false, true, false, false, true, true, false)), (String ((Ascii
-    (true, false, true, false, false, true, true, false)),
-    EmptyString))))))))))))))))) :: ((SAlpha ((String ((Ascii (true, true,
-    true, true, false, false, true, false)), (String ((Ascii (false, true,
-    false, false, true, true, true, false)), (String ((Ascii (true, false,
-    false, true, false, true, true, false)), (String ((Ascii (true, true,
-    true, false, false, true, true, false)), (String ((Ascii (true, false,
-    false, true, false, true, true, false)), (String ((Ascii (false, true,
-    true, true, false, true, true, false)), (String ((Ascii (true, false,
-    false, false, false, true, true, false)), (String ((Ascii (false, false,
-    true, false, true, true, true, false)), (String ((Ascii (true, true,
-    true, true, false, true, true, false)), (String ((Ascii (false, true,
-    false, false, true, true, true, false)), (String ((Ascii (true, true,
-    false, false, false, false, true, false)), (String ((Ascii (true, false,
-    false, true, false, true, true, false)), (String ((Ascii (false, false,
-    true, false, true, true, true, false)), (String ((Ascii (true, false,
-    false, true, true, true, true, false)), (String ((Ascii (true, true,
-    false, false, true, false, true, false)), (String ((Ascii (false, false,
-    true, false, true, true, true, false)), (String ((Ascii (true, false,
-    false, false, false, true, true, false)), (String ((Ascii (false, false,
-    true, false, true, true, true, false)), (String ((Ascii (true, false,
-    true, false, false, true, true, false)), (String ((Ascii (false, false,
-    false, false, true, false, true, false)), (String ((Ascii (false, true,
-    false, false, true, true, true, false)), (String ((Ascii (true, true,
-    true, true, false, true, true, false)), (String ((Ascii (false, true,
-    true, false, true, true, true, false)), (String ((Ascii (true, false,
-    false, true, false, true, true, false)), (String ((Ascii (false, true,
-    true, true, false, true, true, false)), (String ((Ascii (true, true,
-    false, false, false, true, true, false)), (String ((Ascii (true, false,
-    true, false, false, true, true, false)),
-    EmptyString)))))))))))))))))))))))))))))))))))))))))))))))))))))), (S (S
-    (S (S (S (S (S (S (S (S (S (S (S (S (S (S (S (S (S (S (S (S (S (S (S (S
-    (S (S (S (S (S (S (S (S (S
-    O))))))))))))))))))))))))))))))))))))) :: ((SAlpha ((String ((Ascii
-    (true, true, true, true, false, false, true, false)), (String ((Ascii
-    (false, true, false, false, true, true, true, false)), (String ((Ascii
-    (true, false, false, true, false, true, true, false)), (String ((Ascii
-    (true, true, true, false, false, true, true, false)), (String ((Ascii
-    (true, false, false, true, false, true, true, false)), (String ((Ascii
-    (false, true, true, true, false, true, true, false)), (String ((Ascii
-    (true, false, false, false, false, true, true, false)), (String ((Ascii
-    (false, false, true, false, true, true, true, false)), (String ((Ascii
-    (true, true, true, true, false, true, true, false)), (String ((Ascii
-    (false, true, false, false, true, true, true, false)), (String ((Ascii
-    (true, true, false, false, false, false, true, false)), (String ((Ascii
-    (true, true, true, true, false, true, true, false)), (String ((Ascii
-    (true, false, true, false, true, true, true, false)), (String ((Ascii
-    (false, true, true, true, false, true, true, false)), (String ((Ascii
-    (false, false, true, false, true, true, true, false)), (String ((Ascii
-    (false, true, false, false, true, true, true, false)), (String ((Ascii
-    (true, false, false, true, true, true, true, false)), (String ((Ascii
-    (false, false, false, false, true, false, true, false)), (String ((Ascii
-    (true, true, true, true, false, true, true, false)), (String ((Ascii
-    (true, true, false, false, true, true, true, false)), (String ((Ascii
-    (false, false, true, false, true, true, true, false)), (String ((Ascii
-    (true, false, false, false, false, true, true, false)), (String ((Ascii
-    (false, false, true, true, false, true, true, false)), (String ((Ascii
-    (true, true, false, false, false, false, true, false)), (String ((Ascii
-    (true, true, true, true, false, true, true, false)), (String ((Ascii
-    (false, false, true, false, false, true, true, false)), (String ((Ascii
-    (true, false, true, false, false, true, true, false)),
-    EmptyString)))))))))))))))))))))))))))))))))))))))))))))))))))))), (S (S
-    (S (S (S (S (S (S (S (S (S (S (S (S (S (S (S (S (S (S (S (S (S (S (S (S
-    (S (S (S (S (S (S (S (S (S
-    O))))))))))))))))))))))))))))))))))))) :: ((SLit ((Npos (XO (XO (XO (XO
-    (XO XH)))))) :: ((Npos (XO (XO (XO (XO (XO XH)))))) :: ((Npos (XO (XO (XO
-    (XO (XO XH)))))) :: ((Npos (XO (XO (XO (XO (XO XH)))))) :: ((Npos (XO (XO
-    (XO (XO (XO XH)))))) :: ((Npos (XO (XO (XO (XO (XO XH)))))) :: ((Npos (XO
-    (XO (XO (XO (XO XH)))))) :: ((Npos (XO (XO (XO (XO (XO XH)))))) :: ((Npos
-    (XO (XO (XO (XO (XO XH)))))) :: ((Npos (XO (XO (XO (XO (XO
-    XH)))))) :: ((Npos (XO (XO (XO (XO (XO XH)))))) :: ((Npos (XO (XO (XO (XO
-    (XO XH)))))) :: ((Npos (XO (XO (XO (XO (XO XH)))))) :: ((Npos (XO (XO (XO
-    (XO (XO XH)))))) :: []))))))))))))))) :: ((SNum ((String ((Ascii (true,
-    false, true, false, false, false, true, false)), (String ((Ascii (false,
-    true, true, true, false, true, true, false)), (String ((Ascii (false,
-    false, true, false, true, true, true, false)), (String ((Ascii (false,
-    true, false, false, true, true, true, false)), (String ((Ascii (true,
-    false, false, true, true, true, true, false)), (String ((Ascii (false,
-    false, true, false, false, false, true, false)), (String ((Ascii (true,
-    false, true, false, false, true, true, false)), (String ((Ascii (false,
-    false, true, false, true, true, true, false)), (String ((Ascii (true,
-    false, false, false, false, true, true, false)), (String ((Ascii (true,
-    false, false, true, false, true, true, false)), (String ((Ascii (false,
-    false, true, true, false, true, true, false)), (String ((Ascii (true,
-    true, false, false, true, false, true, false)), (String ((Ascii (true,
-    false, true, false, false, true, true, false)), (String ((Ascii (true,
-    false, false, false, true, true, true, false)), (String ((Ascii (true,
-    false, true, false, true, true, true, false)), (String ((Ascii (true,
-    false, true, false, false, true, true, false)), (String ((Ascii (false,
-    true, true, true, false, true, true, false)), (String ((Ascii (true,
-    true, false, false, false, true, true, false)), (String ((Ascii (true,
-    false, true, false, false, true, true, false)), (String ((Ascii (false,
-    true, true, true, false, false, true, false)), (String ((Ascii (true,
-    false, true, false, true, true, true, false)), (String ((Ascii (true,
-    false, true, true, false, true, true, false)), (String ((Ascii (false,
-    true, false, false, false, true, true, false)), (String ((Ascii (true,
-    false, true, false, false, true, true, false)), (String ((Ascii (false,
-    true, false, false, true, true, true, false)),
-    EmptyString)))))))))))))))))))))))))))))))))))))))))))))))))), (S (S (S
-    (S (S (S (S O))))))))) :: [])))))); l_cuts =
-    ((mkcut O (S O) EmptyString []) :: ((mkcut (S O) (S (S (S O))) (String
-                                          ((Ascii (false, false, true, false,
-                                          true, false, true, false)), (String
-                                          ((Ascii (true, false, false, true,
-                                          true, true, true, false)), (String
-                                          ((Ascii (false, false, false,
-                                          false, true, true, true, false)),
-                                          (String ((Ascii (true, false, true,
-                                          false, false, true, true, false)),
-                                          (String ((Ascii (true, true, false,
-                                          false, false, false, true, false)),
-                                          (String ((Ascii (true, true, true,
-                                          true, false, true, true, false)),
-                                          (String ((Ascii (false, false,
-                                          true, false, false, true, true,
-                                          false)), (String ((Ascii (true,
-                                          false, true, false, false, true,
-                                          true, false)),
-                                          EmptyString)))))))))))))))) []) :: (
-    (mkcut (S (S (S O))) (S (S (S (S (S (S (S (S (S (S (S (S (S (S (S (S (S
-      (S (S (S (S (S (S (S (S (S (S (S (S (S (S (S (S (S (S (S (S (S
-      O)))))))))))))))))))))))))))))))))))))) (String ((Ascii (true, true,
-      true, true, false, false, true, false)), (String ((Ascii (false, true,
-      false, false, true, true, true, false)), (String ((Ascii (true, false,
-      false, true, false, true, true, false)), (String ((Ascii (true, true,
-      true, false, false, true, true, false)), (String ((Ascii (true, false,
-      false, true, false, true, true, false)), (String ((Ascii (false, true,
-      true, true, false, true, true, false)), (String ((Ascii (true, false,
-      false, false, false, true, true, false)), (String ((Ascii (false,
-      false, true, false, true, true, true, false)), (String ((Ascii (true,
-      true, true, true, false, true, true, false)), (String ((Ascii (false,
-      true, false, false, true, true, true, false)), (String ((Ascii (true,
-      true, false, false, false, false, true, false)), (String ((Ascii (true,
-      false, false, true, false, true, true, false)), (String ((Ascii (false,
-      false, true, false, true, true, true, false)), (String ((Ascii (true,
-      false, false, true, true, true, true, false)), (String ((Ascii (true,
-      true, false, false, true, false, true, false)), (String ((Ascii (false,
-      false, true, false, true, true, true, false)), (String ((Ascii (true,
-      false, false, false, false, true, true, false)), (String ((Ascii
-      (false, false, true, false, true, true, true, false)), (String ((Ascii
-      (true, false, true, false, false, true, true, false)), (String ((Ascii
-      (false, false, false, false, true, false, true, false)), (String
-      ((Ascii (false, true, false, false, true, true, true, false)), (String
-      ((Ascii (true, true, true, true, false, true, true, false)), (String
-      ((Ascii (false, true, true, false, true, true, true, false)), (String
-      ((Ascii (true, false, false, true, false, true, true, false)), (String
-      ((Ascii (false, true, true, true, false, true, true, false)), (String
-      ((Ascii (true, true, false, false, false, true, true, false)), (String
-      ((Ascii (true, false, true, false, false, true, true, false)),
-      EmptyString))))))))))))))))))))))))))))))))))))))))))))))))))))))
-      ((String ((Ascii (true, true, false, false, true, true, true, false)),
-      (String ((Ascii (false, false, true, false, true, true, true, false)),
-      (String ((Ascii (false, true, false, false, true, true, true, false)),
-      (String ((Ascii (true, false, false, true, false, true, true, false)),
-      (String ((Ascii (false, true, true, true, false, true, true, false)),
-      (String ((Ascii (true, true, true, false, false, true, true, false)),
-      (String ((Ascii (true, true, false, false, true, true, true, false)),
-      (String ((Ascii (false, true, true, true, false, true, false, false)),
-      (String ((Ascii (false, false, true, false, true, false, true, false)),
-      (String ((Ascii (false, true, false, false, true, true, true, false)),
-      (String ((Ascii (true, false, false, true, false, true, true, false)),
-      (String ((Ascii (true, false, true, true, false, true, true, false)),
-      (String ((Ascii (true, true, false, false, true, false, true, false)),
-      (String ((Ascii (false, false, false, false, true, true, true, false)),
-      (String ((Ascii (true, false, false, false, false, true, true, false)),
-      (String ((Ascii (true, true, false, false, false, true, true, false)),
-      (String ((Ascii (true, false, true, false, false, true, true, false)),
-      EmptyString)))))))))))))))))))))))))))))))))) :: [])) :: ((mkcut (S (S
-                                                                  (S (S (S (S
-                                                                  (S (S (S (S
-                                                                  (S (S (S (S
-                                                                  (S (S (S (S
-                                                                  (S (S (S (S
-                                                                  (S (S (S (S
-                                                                  (S (S (S (S
-                                                                  (S (S (S (S
-                                                                  (S (S (S (S
-                                                                  O))))))))))))))))))))))))))))))))))))))
-                                                                  (S (S (S (S
-                                                                  (S (S (S (S
-                                                                  (S (S (S (S
-                                                                  (S (S (S (S
-                                                                  (S (S (S (S
-                                                                  (S (S (S (S
-                                                                  (S (S (S (S
-                                                                  (S (S (S (S
-                                                                  (S (S (S (S
-                                                                  (S (S (S (S
-                                                                  (S (S (S (S
-                                                                  (S (S (S (S
-                                                                  (S (S (S (S
-                                                                  (S (S (S (S
-                                                                  (S (S (S (S
-                                                                  (S (S (S (S
-                                                                  (S (S (S (S
-                                                                  (S (S (S (S
-                                                                  (S
-                                                                  O)))))))))))))))))))))))))))))))))))))))))))))))))))))))))))))))))))))))))
-                                                                  (String
-                                                                  ((Ascii
-                                                                  (true,
-                                                                  true, true,
-                                                                  true,
-                                                                  false,
-                                                                  false,
-                                                                  true,
-                                                                  false)),
-                                                                  (String
-                                                                  ((Ascii
-                                                                  (false,
-                                                                  true,
-                                                                  false,
-                                                                  false,
-                                                                  true, true,
-                                                                  true,
-                                                                  false)),
-                                                                  (String
-                                                                  ((Ascii
-                                                                  (true,
-                                                                  false,
-                                                                  false,
-                                                                  true,
-                                                                  false,
-                                                                  true, true,
-                                                                  false)),
-                                                                  (String
-                                                                  ((Ascii
-                                                                  (true,
-                                                                  true, true,
-                                                                  false,
-                                                                  false,
-                                                                  true, true,
-                                                                  false)),
-                                                                  (String
-                                                                  ((Ascii
-                                                                  (true,
-                                                                  false,
-                                                                  false,
-                                                                  true,
-                                                                  false,
-                                                                  true, true,
-                                                                  false)),
-                                                                  (String
-                                                                  ((Ascii
-                                                                  (false,
-                                                                  true, true,
-                                                                  true,
-                                                                  false,
-                                                                  true, true,
-                                                                  false)),
-                                                                  (String
-                                                                  ((Ascii
-                                                                  (true,
-                                                                  false,
-                                                                  false,
-                                                                  false,
-                                                                  false,
-                                                                  true, true,
-                                                                  false)),
-                                                                  (String
-                                                                  ((Ascii
-                                                                  (false,
-                                                                  false,
-                                                                  true,
-                                                                  false,
-                                                                  true, true,
-                                                                  true,
-                                                                  false)),
-                                                                  (String
-                                                                  ((Ascii
-                                                                  (true,
-                                                                  true, true,
-                                                                  true,
-                                                                  false,
-                                                                  true, true,
-                                                                  false)),
-                                                                  (String
-                                                                  ((Ascii
-                                                                  (false,
-                                                                  true,
-                                                                  false,
-                                                                  false,
-                                                                  true, true,
-                                                                  true,
-                                                                  false)),
-                                                                  (String
-                                                                  ((Ascii
-                                                                  (true,
-                                                                  true,
-                                                                  false,
-                                                                  false,
-                                                                  false,
-                                                                  false,
-                                                                  true,
-                                                                  false)),
-                                                                  (String
-                                                                  ((Ascii
-                                                                  (true,
-                                                                  true, true,
-                                                                  true,
-                                                                  false,
-                                                                  true, true,
-                                                                  false)),
-                                                                  (String
-                                                                  ((Ascii
-                                                                  (true,
-                                                                  false,
-                                                                  true,
-                                                                  false,
-                                                                  true, true,
-                                                                  true,
-                                                                  false)),
-                                                                  (String
-                                                                  ((Ascii
-                                                                  (false,
-                                                                  true, true,
-                                                                  true,
-                                                                  false,
-                                                                  true, true,
-                                                                  false)),
-                                                                  (String
-                                                                  ((Ascii
-                                                                  (false,
-                                                                  false,
-                                                                  true,
-                                                                  false,
-                                                                  true, true,
-                                                                  true,
-                                                                  false)),
-                                                                  (String
-                                                                  ((Ascii
-                                                                  (false,
-                                                                  true,
-                                                                  false,
-                                                                  false,
-                                                                  true, true,
-                                                                  true,
-                                                                  false)),
-                                                                  (String
-                                                                  ((Ascii
-                                                                  (true,
-                                                                  false,
-                                                                  false,
-                                                                  true, true,
-                                                                  true, true,
-                                                                  false)),
-                                                                  (String
-                                                                  ((Ascii
-                                                                  (false,
-                                                                  false,
-                                                                  false,
-                                                                  false,
-                                                                  true,
-                                                                  false,
-                                                                  true,
-                                                                  false)),
-                                                                  (String
-                                                                  ((Ascii
-                                                                  (true,
-                                                                  true, true,
-                                                                  true,
-                                                                  false,
-                                                                  true, true,
-                                                                  false)),
-                                                                  (String
-                                                                  ((Ascii
-                                                                  (true,
-                                                                  true,
-                                                                  false,
-                                                                  false,
-                                                                  true, true,
-                                                                  true,
-                                                                  false)),
-                                                                  (String
-                                                                  ((Ascii
-                                                                  (false,
-                                                                  false,
-                                                                  true,
-                                                                  false,
-                                                                  true, true,
-                                                                  true,
-                                                                  false)),
-                                                                  (String
-                                                                  ((Ascii
-                                                                  (true,
-                                                                  false,
-                                                                  false,
-                                                                  false,
-                                                                  false,
-                                                                  true, true,
-                                                                  false)),
-                                                                  (String
-                                                                  ((Ascii
-                                                                  (false,
-                                                                  false,
-                                                                  true, true,
-                                                                  false,
-                                                                  true, true,
-                                                                  false)),
-                                                                  (String
-                                                                  ((Ascii
-                                                                  (true,
-                                                                  true,
-                                                                  false,
-                                                                  false,
-                                                                  false,
-                                                                  false,
-                                                                  true,
-                                                                  false)),
-                                                                  (String
-                                                                  ((Ascii
-                                                                  (true,
-                                                                  true, true,
-                                                                  true,
-                                                                  false,
-                                                                  true, true,
-                                                                  false)),
-                                                                  (String
-                                                                  ((Ascii
-                                                                  (false,
-                                                                  false,
-                                                                  true,
-                                                                  false,
-                                                                  false,
-                                                                  true, true,
-                                                                  false)),
-                                                                  (String
-                                                                  ((Ascii
-                                                                  (true,
-                                                                  false,
-                                                                  true,
-                                                                  false,
-                                                                  false,
-                                                                  true, true,
-                                                                  false)),
-                                                                  EmptyString))))))))))))))))))))))))))))))))))))))))))))))))))))))
-                                                                  ((String
-                                                                  ((Ascii
-                                                                  (true,
-                                                                  true,
-                                                                  false,
-                                                                  false,
-                                                                  true, true,
-                                                                  true,
-                                                                  false)),
-                                                                  (String
-                                                                  ((Ascii
-                                                                  (false,
-                                                                  false,
-                                                                  true,
-                                                                  false,
-                                                                  true, true,
-                                                                  true,
-                                                                  false)),
-                                                                  (String
-                                                                  ((Ascii
-                                                                  (false,
-                                                                  true,
-                                                                  false,
-                                                                  false,
-                                                                  true, true,
-                                                                  true,
-                                                                  false)),
-                                                                  (String
-                                                                  ((Ascii
-                                                                  (true,
-                                                                  false,
-                                                                  false,
-                                                                  true,
-                                                                  false,
-                                                                  true, true,
-                                                                  false)),
-                                                                  (String
-                                                                  ((Ascii
-                                                                  (false,
-                                                                  true, true,
-                                                                  true,
-                                                                  false,
-                                                                  true, true,
-                                                                  false)),
-                                                                  (String
-                                                                  ((Ascii
-                                                                  (true,
-                                                                  true, true,
-                                                                  false,
-                                                                  false,
-                                                                  true, true,
-                                                                  false)),
-                                                                  (String
-                                                                  ((Ascii
-                                                                  (true,
-                                                                  true,
-                                                                  false,
-                                                                  false,
-                                                                  true, true,
-                                                                  true,
-                                                                  false)),
-                                                                  (String
-                                                                  ((Ascii
-                                                                  (false,
-                                                                  true, true,
-                                                                  true,
-                                                                  false,
-                                                                  true,
-                                                                  false,
-                                                                  false)),
-                                                                  (String
-                                                                  ((Ascii
-                                                                  (false,
-                                                                  false,
-                                                                  true,
-                                                                  false,
-                                                                  true,
-                                                                  false,
-                                                                  true,
-                                                                  false)),
-                                                                  (String
-                                                                  ((Ascii
-                                                                  (false,
-                                                                  true,
-                                                                  false,
-                                                                  false,
-                                                                  true, true,
-                                                                  true,
-                                                                  false)),
-                                                                  (String
-                                                                  ((Ascii
-                                                                  (true,
-                                                                  false,
-                                                                  false,
-                                                                  true,
-                                                                  false,
-                                                                  true, true,
-                                                                  false)),
-                                                                  (String
-                                                                  ((Ascii
-                                                                  (true,
-                                                                  false,
-                                                                  true, true,
-                                                                  false,
-                                                                  true, true,
-                                                                  false)),
-                                                                  (String
-                                                                  ((Ascii
-                                                                  (true,
-                                                                  true,
-                                                                  false,
-                                                                  false,
-                                                                  true,
-                                                                  false,
-                                                                  true,
-                                                                  false)),
-                                                                  (String
-                                                                  ((Ascii
-                                                                  (false,
-                                                                  false,
-                                                                  false,
-                                                                  false,
-                                                                  true, true,
-                                                                  true,
-                                                                  false)),
-                                                                  (String
-                                                                  ((Ascii
-                                                                  (true,
-                                                                  false,
-                                                                  false,
-                                                                  false,
-                                                                  false,
-                                                                  true, true,
-                                                                  false)),
-                                                                  (String
-                                                                  ((Ascii
-                                                                  (true,
-                                                                  true,
-                                                                  false,
-                                                                  false,
-                                                                  false,
-                                                                  true, true,
-                                                                  false)),
-                                                                  (String
-                                                                  ((Ascii
-                                                                  (true,
-                                                                  false,
-                                                                  true,
-                                                                  false,
-                                                                  false,
-                                                                  true, true,
-                                                                  false)),
-                                                                  EmptyString)))))))))))))))))))))))))))))))))) :: [])) :: (
-    (mkcut (S (S (S (S (S (S (S (S (S (S (S (S (S (S (S (S (S (S (S (S (S (S
-      (S (S (S (S (S (S (S (S (S (S (S (S (S (S (S (S (S (S (S (S (S (S (S (S
-      (S (S (S (S (S (S (S (S (S (S (S (S (S (S (S (S (S (S (S (S (S (S (S (S
-      (S (S (S
-      O)))))))))))))))))))))))))))))))))))))))))))))))))))))))))))))))))))))))))
-      (S (S (S (S (S (S (S (S (S (S (S (S (S (S (S (S (S (S (S (S (S (S (S (S
-      (S (S (S (S (S (S (S (S (S (S (S (S (S (S (S (S (S (S (S (S (S (S (S (S
-      (S (S (S (S (S (S (S (S (S (S (S (S (S (S (S (S (S (S (S (S (S (S (S (S
-      (S (S (S (S (S (S (S (S (S (S (S (S (S (S (S
-      O)))))))))))))))))))))))))))))))))))))))))))))))))))))))))))))))))))))))))))))))))))))))
-      EmptyString []) :: ((mkcut (S (S (S (S (S (S (S (S (S (S (S (S (S (S (S
-                            (S (S (S (S (S (S (S (S (S (S (S (S (S (S (S (S
-                            (S (S (S (S (S (S (S (S (S (S (S (S (S (S (S (S
-                            (S (S (S (S (S (S (S (S (S (S (S (S (S (S (S (S
-                            (S (S (S (S (S (S (S (S (S (S (S (S (S (S (S (S
-                            (S (S (S (S (S (S (S (S
-                            O)))))))))))))))))))))))))))))))))))))))))))))))))))))))))))))))))))))))))))))))))))))))
-                            (S (S (S (S (S (S (S (S (S (S (S (S (S (S (S (S
-                            (S (S (S (S (S (S (S (S (S (S (S (S (S (S (S (S
-                            (S (S (S (S (S (S (S (S (S (S (S (S (S (S (S (S
-                            (S (S (S (S (S (S (S (S (S (S (S (S (S (S (S (S
-                            (S (S (S (S (S (S (S (S (S (S (S (S (S (S (S (S
-                            (S (S (S (S (S (S (S (S (S (S (S (S (S (S
-                            O))))))))))))))))))))))))))))))))))))))))))))))))))))))))))))))))))))))))))))))))))))))))))))))
-                            (String ((Ascii (true, false, true, false, false,
-                            false, true, false)), (String ((Ascii (false,
-                            true, true, true, false, true, true, false)),
-                            (String ((Ascii (false, false, true, false, true,
-                            true, true, false)), (String ((Ascii (false,
-                            true, false, false, true, true, true, false)),
-                            (String ((Ascii (true, false, false, true, true,
-                            true, true, false)), (String ((Ascii (false,
-                            false, true, false, false, false, true, false)),
-                            (String ((Ascii (true, false, true, false, false,
-                            true, true, false)), (String ((Ascii (false,
-                            false, true, false, true, true, true, false)),
-                            (String ((Ascii (true, false, false, false,
-                            false, true, true, false)), (String ((Ascii
-                            (true, false, false, true, false, true, true,
-                            false)), (String ((Ascii (false, false, true,
-                            true, false, true, true, false)), (String ((Ascii
-                            (true, true, false, false, true, false, true,
-                            false)), (String ((Ascii (true, false, true,
-                            false, false, true, true, false)), (String
-                            ((Ascii (true, false, false, false, true, true,
-                            true, false)), (String ((Ascii (true, false,
-                            true, false, true, true, true, false)), (String
-                            ((Ascii (true, false, true, false, false, true,
-                            true, false)), (String ((Ascii (false, true,
-                            true, true, false, true, true, false)), (String
-                            ((Ascii (true, true, false, false, false, true,
-                            true, false)), (String ((Ascii (true, false,
-                            true, false, false, true, true, false)), (String
-                            ((Ascii (false, true, true, true, false, false,
-                            true, false)), (String ((Ascii (true, false,
-                            true, false, true, true, true, false)), (String
-                            ((Ascii (true, false, true, true, false, true,
-                            true, false)), (String ((Ascii (false, true,
-                            false, false, false, true, true, false)), (String
-                            ((Ascii (true, false, true, false, false, true,
-                            true, false)), (String ((Ascii (false, true,
-                            false, false, true, true, true, false)),
-                            EmptyString))))))))))))))))))))))))))))))))))))))))))))))))))
-                            ((String ((Ascii (false, false, false, false,
-                            true, true, true, false)), (String ((Ascii (true,
-                            false, false, false, false, true, true, false)),
-                            (String ((Ascii (false, true, false, false, true,
-                            true, true, false)), (String ((Ascii (true, true,
-                            false, false, true, true, true, false)), (String
-                            ((Ascii (true, false, true, false, false, true,
-                            true, false)), (String ((Ascii (false, true,
-                            true, true, false, false, true, false)), (String
-                            ((Ascii (true, false, true, false, true, true,
-                            true, false)), (String ((Ascii (true, false,
-                            true, true, false, true, true, false)), (String
-                            ((Ascii (false, true, true, false, false, false,
-                            true, false)), (String ((Ascii (true, false,
-                            false, true, false, true, true, false)), (String
-                            ((Ascii (true, false, true, false, false, true,
-                            true, false)), (String ((Ascii (false, false,
-                            true, true, false, true, true, false)), (String
-                            ((Ascii (false, false, true, false, false, true,
-                            true, false)),
-                            EmptyString)))))))))))))))))))))))))) :: [])) :: [])))))) }
-
-(** val l_Addenda13 : layout **)
-
-let l_Addenda13 =
-  { l_name = (String ((Ascii (true, false, false, false, false, false, true,
-    false)), (String ((Ascii (false, false, true, false, false, true, true,
-    false)), (String ((Ascii (false, false, true, false, false, true, true,
-    false)), (String ((Ascii (true, false, true, false, false, true, true,
-    false)), (String ((Ascii (false, true, true, true, false, true, true,
-    false)), (String ((Ascii (false, false, true, false, false, true, true,
-    false)), (String ((Ascii (true, false, false, false, false, true, true,
-    false)), (String ((Ascii (true, false, false, false, true, true, false,
-    false)), (String ((Ascii (true, true, false, false, true, true, false,
-    false)), EmptyString)))))))))))))))))); l_ix = IRune; l_segs = ((SLit
-    ((Npos (XI (XI (XI (XO (XI XH)))))) :: [])) :: ((SRaw (String ((Ascii
-    (false, false, true, false, true, false, true, false)), (String ((Ascii
-    (true, false, false, true, true, true, true, false)), (String ((Ascii
-    (false, false, false, false, true, true, true, false)), (String ((Ascii
-    (true, false, true, false, false, true, true, false)), (String ((Ascii
-    (true, true, false, false, false, false, true, false)), (String ((Ascii
-    (true, true, true, true, false, true, true, false)), (String ((Ascii
-    (false, false, true, false, false, true, true, false)), (String ((Ascii
-    (true, false, true, false, false, true, true, false)),
-    EmptyString))))))))))))))))) :: ((SAlpha ((String ((Ascii (true, true,
-    true, true, false, false, true, false)), (String ((Ascii (false, false,
-    true, false, false, false, true, false)), (String ((Ascii (false, true,
-    true, false, false, false, true, false)), (String ((Ascii (true, false,
-    false, true, false, false, true, false)), (String ((Ascii (false, true,
-    true, true, false, false, true, false)), (String ((Ascii (true, false,
-    false, false, false, true, true, false)), (String ((Ascii (true, false,
-    true, true, false, true, true, false)), (String ((Ascii (true, false,
-    true, false, false, true, true, false)), EmptyString)))))))))))))))), (S
-    (S (S (S (S (S (S (S (S (S (S (S (S (S (S (S (S (S (S (S (S (S (S (S (S
-    (S (S (S (S (S (S (S (S (S (S
-    O))))))))))))))))))))))))))))))))))))) :: ((SAlpha ((String ((Ascii
-    (true, true, true, true, false, false, true, false)), (String ((Ascii
-    (false, false, true, false, false, false, true, false)), (String ((Ascii
-    (false, true, true, false, false, false, true, false)), (String ((Ascii
-    (true, false, false, true, false, false, true, false)), (String ((Ascii
-    (true, false, false, true, false, false, true, false)), (String ((Ascii
-    (false, false, true, false, false, false, true, false)), (String ((Ascii
-    (false, true, true, true, false, false, true, false)), (String ((Ascii
-    (true, false, true, false, true, true, true, false)), (String ((Ascii
-    (true, false, true, true, false, true, true, false)), (String ((Ascii
-    (false, true, false, false, false, true, true, false)), (String ((Ascii
-    (true, false, true, false, false, true, true, false)), (String ((Ascii
-    (false, true, false, false, true, true, true, false)), (String ((Ascii
-    (true, false, false, false, true, false, true, false)), (String ((Ascii
-    (true, false, true, false, true, true, true, false)), (String ((Ascii
-    (true, false, false, false, false, true, true, false)), (String ((Ascii
-    (false, false, true, true, false, true, true, false)), (String ((Ascii
-    (true, false, false, true, false, true, true, false)), (String ((Ascii
-    (false, true, true, false, false, true, true, false)), (String ((Ascii
-    (true, false, false, true, false, true, true, false)), (String ((Ascii
-    (true, false, true, false, false, true, true, false)), (String ((Ascii
-    (false, true, false, false, true, true, true, false)),
-    EmptyString)))))))))))))))))))))))))))))))))))))))))), (S (S
-    O)))) :: ((SAlpha ((String ((Ascii (true, true, true, true, false, false,
-    true, false)), (String ((Ascii (false, false, true, false, false, false,
-    true, false)), (String ((Ascii (false, true, true, false, false, false,
-    true, false)), (String ((Ascii (true, false, false, true, false, false,
-    true, false)), (String ((Ascii (true, false, false, true, false, false,
-    true, false)), (String ((Ascii (false, false, true, false, false, true,
-    true, false)), (String ((Ascii (true, false, true, false, false, true,
-    true, false)), (String ((Ascii (false, true, true, true, false, true,
-    true, false)), (String ((Ascii (false, false, true, false, true, true,
-    true, false)), (String ((Ascii (true, false, false, true, false, true,
-    true, false)), (String ((Ascii (false, true, true, false, false, true,
-    true, false)), (String ((Ascii (true, false, false, true, false, true,
-    true, false)), (String ((Ascii (true, true, false, false, false, true,
-    true, false)), (String ((Ascii (true, false, false, false, false, true,
-    true, false)), (String ((Ascii (false, false, true, false, true, true,
-    true, false)), (String ((Ascii (true, false, false, true, false, true,
-    true, false)), (String ((Ascii (true, true, true, true, false, true,
-    true, false)), (String ((Ascii (false, true, true, true, false, true,
-    true, false)), EmptyString)))))))))))))))))))))))))))))))))))), (S (S (S
-    (S (S (S (S (S (S (S (S (S (S (S (S (S (S (S (S (S (S (S (S (S (S (S (S
-    (S (S (S (S (S (S (S O)))))))))))))))))))))))))))))))))))) :: ((SAlpha
-    ((String ((Ascii (true, true, true, true, false, false, true, false)),
-    (String ((Ascii (false, false, true, false, false, false, true, false)),
-    (String ((Ascii (false, true, true, false, false, false, true, false)),
-    (String ((Ascii (true, false, false, true, false, false, true, false)),
-    (String ((Ascii (false, true, false, false, false, false, true, false)),
-    (String ((Ascii (false, true, false, false, true, true, true, false)),
-    (String ((Ascii (true, false, false, false, false, true, true, false)),
-    (String ((Ascii (false, true, true, true, false, true, true, false)),
-    (String ((Ascii (true, true, false, false, false, true, true, false)),
-    (String ((Ascii (false, false, false, true, false, true, true, false)),
-    (String ((Ascii (true, true, false, false, false, false, true, false)),
-    (String ((Ascii (true, true, true, true, false, true, true, false)),
-    (String ((Ascii (true, false, true, false, true, true, true, false)),
-    (String ((Ascii (false, true, true, true, false, true, true, false)),
-    (String ((Ascii (false, false, true, false, true, true, true, false)),
-    (String ((Ascii (false, true, false, false, true, true, true, false)),
-    (String ((Ascii (true, false, false, true, true, true, true, false)),
-    (String ((Ascii (true, true, false, false, false, false, true, false)),
-    (String ((Ascii (true, true, true, true, false, true, true, false)),
-    (String ((Ascii (false, false, true, false, false, true, true, false)),
-    (String ((Ascii (true, false, true, false, false, true, true, false)),
-    EmptyString)))))))))))))))))))))))))))))))))))))))))), (S (S (S
-    O))))) :: ((SLit ((Npos (XO (XO (XO (XO (XO XH)))))) :: ((Npos (XO (XO
-    (XO (XO (XO XH)))))) :: ((Npos (XO (XO (XO (XO (XO XH)))))) :: ((Npos (XO
-    (XO (XO (XO (XO XH)))))) :: ((Npos (XO (XO (XO (XO (XO XH)))))) :: ((Npos
-    (XO (XO (XO (XO (XO XH)))))) :: ((Npos (XO (XO (XO (XO (XO
-    XH)))))) :: ((Npos (XO (XO (XO (XO (XO XH)))))) :: ((Npos (XO (XO (XO (XO
-    (XO XH)))))) :: ((Npos (XO (XO (XO (XO (XO
-    XH)))))) :: []))))))))))) :: ((SNum ((String ((Ascii (true, false, true,
-    false, false, false, true, false)), (String ((Ascii (false, true, true,
-    true, false, true, true, false)), (String ((Ascii (false, false, true,
-    false, true, true, true, false)), (String ((Ascii (false, true, false,
-    false, true, true, true, false)), (String ((Ascii (true, false, false,
-    true, true, true, true, false)), (String ((Ascii (false, false, true,
-    false, false, false, true, false)), (String ((Ascii (true, false, true,
-    false, false, true, true, false)), (String ((Ascii (false, false, true,
-    false, true, true, true, false)), (String ((Ascii (true, false, false,
-    false, false, true, true, false)), (String ((Ascii (true, false, false,
-    true, false, true, true, false)), (String ((Ascii (false, false, true,
-    true, false, true, true, false)), (String ((Ascii (true, true, false,
-    false, true, false, true, false)), (String ((Ascii (true, false, true,
-    false, false, true, true, false)), (String ((Ascii (true, false, false,
-    false, true, true, true, false)), (String ((Ascii (true, false, true,
-    false, true, true, true, false)), (String ((Ascii (true, false, true,
-    false, false, true, true, false)), (String ((Ascii (false, true, true,
-    true, false, true, true, false)), (String ((Ascii (true, true, false,
-    false, false, true, true, false)), (String ((Ascii (true, false, true,
-    false, false, true, true, false)), (String ((Ascii (false, true, true,
-    true, false, false, true, false)), (String ((Ascii (true, false, true,
-    false, true, true, true, false)), (String ((Ascii (true, false, true,
-    true, false, true, true, false)), (String ((Ascii (false, true, false,
-    false, false, true, true, false)), (String ((Ascii (true, false, true,
-    false, false, true, true, false)), (String ((Ascii (false, true, false,
-    false, true, true, true, false)),
-    EmptyString)))))))))))))))))))))))))))))))))))))))))))))))))), (S (S (S
-    (S (S (S (S O))))))))) :: [])))))))); l_cuts =
-    ((mkcut O (S O) EmptyString []) :: ((mkcut (S O) (S (S (S O))) (String
-                                          ((Ascii (false, false, true, false,
-                                          true, false, true, false)), (String
-                                          ((Ascii (true, false, false, true,
-                                          true, true, true, false)), (String
-                                          ((Ascii (false, false, false,
-                                          false, true, true, true, false)),
-                                          (String ((Ascii (true, false, true,
-                                          false, false, true, true, false)),
-                                          (String ((Ascii (true, true, false,
-                                          false, false, false, true, false)),
-                                          (String ((Ascii (true, true, true,
-                                          true, false, true, true, false)),
-                                          (String ((Ascii (false, false,
-                                          true, false, false, true, true,
-                                          false)), (String ((Ascii (true,
-                                          false, true, false, false, true,
-                                          true, false)),
-                                          EmptyString)))))))))))))))) []) :: (
-    (mkcut (S (S (S O))) (S (S (S (S (S (S (S (S (S (S (S (S (S (S (S (S (S
-      (S (S (S (S (S (S (S (S (S (S (S (S (S (S (S (S (S (S (S (S (S
-      O)))))))))))))))))))))))))))))))))))))) (String ((Ascii (true, true,
-      true, true, false, false, true, false)), (String ((Ascii (false, false,
-      true, false, false, false, true, false)), (String ((Ascii (false, true,
-      true, false, false, false, true, false)), (String ((Ascii (true, false,
-      false, true, false, false, true, false)), (String ((Ascii (false, true,
-      true, true, false, false, true, false)), (String ((Ascii (true, false,
-      false, false, false, true, true, false)), (String ((Ascii (true, false,
-      true, true, false, true, true, false)), (String ((Ascii (true, false,
-      true, false, false, true, true, false)), EmptyString))))))))))))))))
-      ((String ((Ascii (true, true, false, false, true, true, true, false)),
-      (String ((Ascii (false, false, true, false, true, true, true, false)),
-      (String ((Ascii (false, true, false, false, true, true, true, false)),
-      (String ((Ascii (true, false, false, true, false, true, true, false)),
-      (String ((Ascii (false, true, true, true, false, true, true, false)),
-      (String ((Ascii (true, true, true, false, false, true, true, false)),
-      (String ((Ascii (true, true, false, false, true, true, true, false)),
-      (String ((Ascii (false, true, true, true, false, true, false, false)),
-      (String ((Ascii (false, false, true, false, true, false, true, false)),
-      (String ((Ascii (false, true, false, false, true, true, true, false)),
-      (String ((Ascii (true, false, false, true, false, true, true, false)),
-      (String ((Ascii (true, false, true, true, false, true, true, false)),
-      (String ((Ascii (true, true, false, false, true, false, true, false)),
-      (String ((Ascii (false, false, false, false, true, true, true, false)),
-      (String ((Ascii (true, false, false, false, false, true, true, false)),
-      (String ((Ascii (true, true, false, false, false, true, true, false)),
-      (String ((Ascii (true, false, true, false, false, true, true, false)),
-      EmptyString)))))))))))))))))))))))))))))))))) :: [])) :: ((mkcut (S (S
-                                                                  (S (S (S (S
-                                                                  (S (S (S (S
-                                                                  (S (S (S (S
-                                                                  (S (S (S (S
-                                                                  (S (S (S (S
-                                                                  (S (S (S (S
-                                                                  (S (S (S (S
-                                                                  (S (S (S (S
-                                                                  (S (S (S (S
-                                                                  O))))))))))))))))))))))))))))))))))))))
-                                                                  (S (S (S (S
-                                                                  (S (S (S (S
-                                                                  (S (S (S (S
-                                                                  (S (S (S (S
-                                                                  (S (S (S (S
-                                                                  (S (S (S (S
-                                                                  (S (S (S (S
-                                                                  (S (S (S (S
-                                                                  (S (S (S (S
-                                                                  (S (S (S (S
-                                                                  O))))))))))))))))))))))))))))))))))))))))
-                                                                  (String
-                                                                  ((Ascii
-                                                                  (true,
-                                                                  true, true,
-                                                                  true,
-                                                                  false,
-                                                                  false,
-                                                                  true,
-                                                                  false)),
-                                                                  (String
-                                                                  ((Ascii
-                                                                  (false,
-                                                                  false,
-                                                                  true,
-                                                                  false,
-                                                                  false,
-                                                                  false,
-                                                                  true,
-                                                                  false)),
-                                                                  (String
-                                                                  ((Ascii
-                                                                  (false,
-                                                                  true, true,
-                                                                  false,
-                                                                  false,
-                                                                  false,
-                                                                  true,
-                                                                  false)),
-                                                                  (String
-                                                                  ((Ascii
-                                                                  (true,
-                                                                  false,
-                                                                  false,
-                                                                  true,
-                                                                  false,
-                                                                  false,
-                                                                  true,
-                                                                  false)),
-                                                                  (String
-                                                                  ((Ascii
-                                                                  (true,
-                                                                  false,
-                                                                  false,
-                                                                  true,
-                                                                  false,
-                                                                  false,
-                                                                  true,
-                                                                  false)),
-                                                                  (String
-                                                                  ((Ascii
-                                                                  (false,
-                                                                  false,
-                                                                  true,
-                                                                  false,
-                                                                  false,
-                                                                  false,
-                                                                  true,
-                                                                  false)),
-                                                                  (String
-                                                                  ((Ascii
-                                                                  (false,
-                                                                  true, true,
-                                                                  true,
-                                                                  false,
-                                                                  false,
-                                                                  true,
-                                                                  false)),
-                                                                  (String
-                                                                  ((Ascii
-                                                                  (true,
-                                                                  false,
-                                                                  true,
-                                                                  false,
-                                                                  true, true,
-                                                                  true,
-                                                                  false)),
-                                                                  (String
-                                                                  ((Ascii
-                                                                  (true,
-                                                                  false,
-                                                                  true, true,
-                                                                  false,
-                                                                  true, true,
-                                                                  false)),
-                                                                  (String
-                                                                  ((Ascii
-                                                                  (false,
-                                                                  true,
-                                                                  false,
-                                                                  false,
-                                                                  false,
-                                                                  true, true,
-                                                                  false)),
-                                                                  (String
-                                                                  ((Ascii
-                                                                  (true,
-                                                                  false,
-                                                                  true,
-                                                                  false,
-                                                                  false,
-                                                                  true, true,
-                                                                  false)),
-                                                                  (String
-                                                                  ((Ascii
-                                                                  (false,
-                                                                  true,
-                                                                  false,
-                                                                  false,
-                                                                  true, true,
-                                                                  true,
-                                                                  false)),
-                                                                  (String
-                                                                  ((Ascii
-                                                                  (true,
-                                                                  false,
-                                                                  false,
-                                                                  false,
-                                                                  true,
-                                                                  false,
-                                                                  true,
-                                                                  false)),
-                                                                  (String
-                                                                  ((Ascii
-                                                                  (true,
-                                                                  false,
-                                                                  true,
-                                                                  false,
-                                                                  true, true,
-                                                                  true,
-                                                                  false)),
-                                                                  (String
-                                                                  ((Ascii
-                                                                  (true,
-                                                                  false,
-                                                                  false,
-                                                                  false,
-                                                                  false,
-                                                                  true, true,
-                                                                  false)),
-                                                                  (String
-                                                                  ((Ascii
-                                                                  (false,
-                                                                  false,
-                                                                  true, true,
-                                                                  false,
-                                                                  true, true,
-                                                                  false)),
-                                                                  (String
-                                                                  ((Ascii
-                                                                  (true,
-                                                                  false,
-                                                                  false,
-                                                                  true,
-                                                                  false,
-                                                                  true, true,
-                                                                  false)),
-                                                                  (String
-                                                                  ((Ascii
-                                                                  (false,
-                                                                  true, true,
-                                                                  false,
-                                                                  false,
-                                                                  true, true,
-                                                                  false)),
-                                                                  (String
-                                                                  ((Ascii
-                                                                  (true,
-                                                                  false,
-                                                                  false,
-                                                                  true,
-                                                                  false,
-                                                                  true, true,
-                                                                  false)),
-                                                                  (String
-                                                                  ((Ascii
-                                                                  (true,
-                                                                  false,
-                                                                  true,
-                                                                  false,
-                                                                  false,
-                                                                  true, true,
-                                                                  false)),
-                                                                  (String
-                                                                  ((Ascii
-                                                                  (false,
-                                                                  true,
-                                                                  false,
-                                                                  false,
-                                                                  true, true,
-                                                                  true,
-                                                                  false)),
-                                                                  EmptyString))))))))))))))))))))))))))))))))))))))))))
-                                                                  []) :: (
-    (mkcut (S (S (S (S (S (S (S (S (S (S (S (S (S (S (S (S (S (S (S (S (S (S
-      (S (S (S (S (S (S (S (S (S (S (S (S (S (S (S (S (S (S
-      O)))))))))))))))))))))))))))))))))))))))) (S (S (S (S (S (S (S (S (S (S
-      (S (S (S (S (S (S (S (S (S (S (S (S (S (S (S (S (S (S (S (S (S (S (S (S
-      (S (S (S (S (S (S (S (S (S (S (S (S (S (S (S (S (S (S (S (S (S (S (S (S
-      (S (S (S (S (S (S (S (S (S (S (S (S (S (S (S (S
-      O))))))))))))))))))))))))))))))))))))))))))))))))))))))))))))))))))))))))))
-      (String ((Ascii (true, true, true, true, false, false, true, false)),
-      (String ((Ascii (false, false, true, false, false, false, true,
-      false)), (String ((Ascii (false, true, true, false, false, false, true,
-      false)), (String ((Ascii (true, false, false, true, false, false, true,
-      false)), (String ((Ascii (true, false, false, true, false, false, true,
-      false)), (String ((Ascii (false, false, true, false, false, true, true,
-      false)), (String ((Ascii (true, false, true, false, false, true, true,
-      false)), (String ((Ascii (false, true, true, true, false, true, true,
-      false)), (String ((Ascii (false, false, true, false, true, true, true,
-      false)), (String ((Ascii (true, false, false, true, false, true, true,
-      false)), (String ((Ascii (false, true, true, false, false, true, true,
-      false)), (String ((Ascii (true, false, false, true, false, true, true,
-      false)), (String ((Ascii (true, true, false, false, false, true, true,
-      false)), (String ((Ascii (true, false, false, false, false, true, true,
-      false)), (String ((Ascii (false, false, true, false, true, true, true,
-      false)), (String ((Ascii (true, false, false, true, false, true, true,
-      false)), (String ((Ascii (true, true, true, true, false, true, true,
-      false)), (String ((Ascii (false, true, true, true, false, true, true,
-      false)), EmptyString)))))))))))))))))))))))))))))))))))) ((String
-      ((Ascii (false, false, false, false, true, true, true, false)), (String
-      ((Ascii (true, false, false, false, false, true, true, false)), (String
-      ((Ascii (false, true, false, false, true, true, true, false)), (String
-      ((Ascii (true, true, false, false, true, true, true, false)), (String
-      ((Ascii (true, false, true, false, false, true, true, false)), (String
-      ((Ascii (true, true, false, false, true, false, true, false)), (String
-      ((Ascii (false, false, true, false, true, true, true, false)), (String
-      ((Ascii (false, true, false, false, true, true, true, false)), (String
-      ((Ascii (true, false, false, true, false, true, true, false)), (String
-      ((Ascii (false, true, true, true, false, true, true, false)), (String
-      ((Ascii (true, true, true, false, false, true, true, false)), (String
-      ((Ascii (false, true, true, false, false, false, true, false)), (String
-      ((Ascii (true, false, false, true, false, true, true, false)), (String
-      ((Ascii (true, false, true, false, false, true, true, false)), (String
-      ((Ascii (false, false, true, true, false, true, true, false)), (String
-      ((Ascii (false, false, true, false, false, true, true, false)),
-      EmptyString)))))))))))))))))))))))))))))))) :: [])) :: ((mkcut (S (S (S
-                                                                (S (S (S (S
-                                                                (S (S (S (S
-                                                                (S (S (S (S
-                                                                (S (S (S (S
-                                                                (S (S (S (S
-                                                                (S (S (S (S
-                                                                (S (S (S (S
-                                                                (S (S (S (S
-                                                                (S (S (S (S
-                                                                (S (S (S (S
-                                                                (S (S (S (S
-                                                                (S (S (S (S
-                                                                (S (S (S (S
-                                                                (S (S (S (S
-                                                                (S (S (S (S
-                                                                (S (S (S (S
-                                                                (S (S (S (S
-                                                                (S (S (S
-                                                                O))))))))))))))))))))))))))))))))))))))))))))))))))))))))))))))))))))))))))
-                                                                (S (S (S (S
-                                                                (S (S (S (S
-                                                                (S (S (S (S
-                                                                (S (S (S (S
-                                                                (S (S (S (S
-                                                                (S (S (S (S
-                                                                (S (S (S (S
-                                                                (S (S (S (S
-                                                                (S (S (S (S
-                                                                (S (S (S (S
-                                                                (S (S (S (S
-                                                                (S (S (S (S
-                                                                (S (S (S (S
-                                                                (S (S (S (S
-                                                                (S (S (S (S
-                                                                (S (S (S (S
-                                                                (S (S (S (S
-                                                                (S (S (S (S
-                                                                (S (S (S (S
-                                                                (S
-                                                                O)))))))))))))))))))))))))))))))))))))))))))))))))))))))))))))))))))))))))))))
-                                                                (String
-                                                                ((Ascii
-                                                                (true, true,
-                                                                true, true,
-                                                                false, false,
-                                                                true,
-                                                                false)),
-                                                                (String
-                                                                ((Ascii
-                                                                (false,
-                                                                false, true,
-                                                                false, false,
-                                                                false, true,
-                                                                false)),
-                                                                (String
-                                                                ((Ascii
-                                                                (false, true,
-                                                                true, false,
-                                                                false, false,
-                                                                true,
-                                                                false)),
-                                                                (String
-                                                                ((Ascii
-                                                                (true, false,
-                                                                false, true,
-                                                                false, false,
-                                                                true,
-                                                                false)),
-                                                                (String
-                                                                ((Ascii
-                                                                (false, true,
-                                                                false, false,
-                                                                false, false,
-                                                                true,
-                                                                false)),
-                                                                (String
-                                                                ((Ascii
-                                                                (false, true,
-                                                                false, false,
-                                                                true, true,
-                                                                true,
-                                                                false)),
-                                                                (String
-                                                                ((Ascii
-                                                                (true, false,
-                                                                false, false,
-                                                                false, true,
-                                                                true,
-                                                                false)),
-                                                                (String
-                                                                ((Ascii
-                                                                (false, true,
-                                                                true, true,
-                                                                false, true,
-                                                                true,
-                                                                false)),
-                                                                (String
-                                                                ((Ascii
-                                                                (true, true,
-                                                                false, false,
-                                                                false, true,
-                                                                true,
-                                                                false)),
-                                                                (String
-                                                                ((Ascii
-                                                                (false,
-                                                                false, false,
-                                                                true, false,
-                                                                true, true,
-                                                                false)),
-                                                                (String
-                                                                ((Ascii
-                                                                (true, true,
-                                                                false, false,
-                                                                false, false,
-                                                                true,
-                                                                false)),
-                                                                (String
-                                                                ((Ascii
-                                                                (true, true,
-                                                                true, true,
-                                                                false, true,
-                                                                true,
-                                                                false)),
-                                                                (String
-                                                                ((Ascii
-                                                                (true, false,
-                                                                true, false,
-                                                                true, true,
-                                                                true,
-                                                                false)),
-                                                                (String
-                                                                ((Ascii
-                                                                (false, true,
-                                                                true, true,
-                                                                false, true,
-                                                                true,
-                                                                false)),
-                                                                (String
-                                                                ((Ascii
-                                                                (false,
-                                                                false, true,
-                                                                false, true,
-                                                                true, true,
-                                                                false)),
-                                                                (String
-                                                                ((Ascii
-                                                                (false, true,
-                                                                false, false,
-                                                                true, true,
-                                                                true,
-                                                                false)),
-                                                                (String
-                                                                ((Ascii
-                                                                (true, false,
-                                                                false, true,
-                                                                true, true,
-                                                                true,
-                                                                false)),
-                                                                (String
-                                                                ((Ascii
-                                                                (true, true,
-                                                                false, false,
-                                                                false, false,
-                                                                true,
-                                                                false)),
-                                                                (String
-                                                                ((Ascii
-                                                                (true, true,
-                                                                true, true,
-                                                                false, true,
-                                                                true,
-                                                                false)),
-                                                                (String
-                                                                ((Ascii
-                                                                (false,
-                                                                false, true,
-                                                                false, false,
-                                                                true, true,
-                                                                false)),
-                                                                (String
-                                                                ((Ascii
-                                                                (true, false,
-                                                                true, false,
-                                                                false, true,
-                                                                true,
-                                                                false)),
-                                                                EmptyString))))))))))))))))))))))))))))))))))))))))))
-                                                                ((String
-                                                                ((Ascii
-                                                                (true, true,
-                                                                false, false,
-                                                                true, true,
-                                                                true,
-                                                                false)),
-                                                                (String
-                                                                ((Ascii
-                                                                (false,
-                                                                false, true,
-                                                                false, true,
-                                                                true, true,
-                                                                false)),
-                                                                (String
-                                                                ((Ascii
-                                                                (false, true,
-                                                                false, false,
-                                                                true, true,
-                                                                true,
-                                                                false)),
-                                                                (String
-                                                                ((Ascii
-                                                                (true, false,
-                                                                false, true,
-                                                                false, true,
-                                                                true,
-                                                                false)),
-                                                                (String
-                                                                ((Ascii
-                                                                (false, true,
-                                                                true, true,
-                                                                false, true,
-                                                                true,
-                                                                false)),
-                                                                (String
-                                                                ((Ascii
-                                                                (true, true,
-                                                                true, false,
-                                                                false, true,
-                                                                true,
-                                                                false)),
-                                                                (String
-                                                                ((Ascii
-                                                                (true, true,
-                                                                false, false,
-                                                                true, true,
-                                                                true,
-                                                                false)),
-                                                                (String
-                                                                ((Ascii
-                                                                (false, true,
-                                                                true, true,
-                                                                false, true,
-                                                                false,
-                                                                false)),
-                                                                (String
-                                                                ((Ascii
-                                                                (false,
-                                                                false, true,
-                                                                false, true,
-                                                                false, true,
-                                                                false)),
-                                                                (String
-                                                                ((Ascii
-                                                                (false, true,
-                                                                false, false,
-                                                                true, true,
-                                                                true,
-                                                                false)),
-                                                                (String
-                                                                ((Ascii
-                                                                (true, false,
-                                                                false, true,
-                                                                false, true,
-                                                                true,
-                                                                false)),
-                                                                (String
-                                                                ((Ascii
-                                                                (true, false,
-                                                                true, true,
-                                                                false, true,
-                                                                true,
-                                                                false)),
-                                                                (String
-                                                                ((Ascii
-                                                                (true, true,
-                                                                false, false,
-                                                                true, false,
-                                                                true,
-                                                                false)),
-                                                                (String
-                                                                ((Ascii
-                                                                (false,
-                                                                false, false,
-                                                                false, true,
-                                                                true, true,
-                                                                false)),
-                                                                (String
-                                                                ((Ascii
-                                                                (true, false,
-                                                                false, false,
-                                                                false, true,
-                                                                true,
-                                                                false)),
-                                                                (String
-                                                                ((Ascii
-                                                                (true, true,
-                                                                false, false,
-                                                                false, true,
-                                                                true,
-                                                                false)),
-                                                                (String
-                                                                ((Ascii
-                                                                (true, false,
-                                                                true, false,
-                                                                false, true,
-                                                                true,
-                                                                false)),
-                                                                EmptyString)))))))))))))))))))))))))))))))))) :: [])) :: (
-    (mkcut (S (S (S (S (S (S (S (S (S (S (S (S (S (S (S (S (S (S (S (S (S (S
-      (S (S (S (S (S (S (S (S (S (S (S (S (S (S (S (S (S (S (S (S (S (S (S (S
-      (S (S (S (S (S (S (S (S (S (S (S (S (S (S (S (S (S (S (S (S (S (S (S (S
-      (S (S (S (S (S (S (S
-      O)))))))))))))))))))))))))))))))))))))))))))))))))))))))))))))))))))))))))))))
-      (S (S (S (S (S (S (S (S (S (S (S (S (S (S (S (S (S (S (S (S (S (S (S (S
-      (S (S (S (S (S (S (S (S (S (S (S (S (S (S (S (S (S (S (S (S (S (S (S (S
-      (S (S (S (S (S (S (S (S (S (S (S (S (S (S (S (S (S (S (S (S (S (S (S (S
-      (S (S (S (S (S (S (S (S (S (S (S (S (S (S (S
-      O)))))))))))))))))))))))))))))))))))))))))))))))))))))))))))))))))))))))))))))))))))))))
-      EmptyString []) :: ((mkcut (S (S (S (S (S (S (S (S (S (S (S (S (S (S (S
-                            (S (S (S (S (S (S (S (S (S (S (S (S (S (S (S (S
-                            (S (S (S (S (S (S (S (S (S (S (S (S (S (S (S (S
-                            (S (S (S (S (S (S (S (S (S (S (S (S (S (S (S (S
-                            (S (S (S (S (S (S (S (S (S (S (S (S (S (S (S (S
-                            (S (S (S (S (S (S (S (S
-                            O)))))))))))))))))))))))))))))))))))))))))))))))))))))))))))))))))))))))))))))))))))))))
-                            (S (S (S (S (S (S (S (S (S (S (S (S (S (S (S (S
-                            (S (S (S (S (S (S (S (S (S (S (S (S (S (S (S (S
-                            (S (S (S (S (S (S (S (S (S (S (S (S (S (S (S (S
-                            (S (S (S (S (S (S (S (S (S (S (S (S (S (S (S (S
-                            (S (S (S (S (S (S (S (S (S (S (S (S (S (S (S (S
-                            (S (S (S (S (S (S (S (S (S (S (S (S (S (S
-                            O))))))))))))))))))))))))))))))))))))))))))))))))))))))))))))))))))))))))))))))))))))))))))))))
-                            (String ((Ascii (true, false, true, false, false,
-                            false, true, false)), (String ((Ascii (false,
-                            true, true, true, false, true, true, false)),
-                            (String ((Ascii (false, false, true, false, true,
-                            true, true, false)), (String ((Ascii (false,
-                            true, false, false, true, true, true, false)),
-                            (String ((Ascii (true, false, false, true, true,
-                            true, true, false)), (String ((Ascii (false,
-                            false, true, false, false, false, true, false)),
-                            (String ((Ascii (true, false, true, false, false,
-                            true, true, false)), (String ((Ascii (false,
-                            false, true, false, true, true, true, false)),
-                            (String ((Ascii (true, false, false, false,
-                            false, true, true, false)), (String ((Ascii
-                            (true, false, false, true, false, true, true,
-                            false)), (String ((Ascii (false, false, true,
-                            true, false, true, true, false)), (String ((Ascii
-                            (true, true, false, false, true, false, true,
-                            false)), (String ((Ascii (true, false, true,
-                            false, false, true, true, false)), (String
-                            ((Ascii (true, false, false, false, true, true,
-                            true, false)), (String ((Ascii (true, false,
-                            true, false, true, true, true, false)), (String
-                            ((Ascii (true, false, true, false, false, true,
-                            true, false)), (String ((Ascii (false, true,
-                            true, true, false, true, true, false)), (String
-                            ((Ascii (true, true, false, false, false, true,
-                            true, false)), (String ((Ascii (true, false,
-                            true, false, false, true, true, false)), (String
-                            ((Ascii (false, true, true, true, false, false,
-                            true, false)), (String ((Ascii (true, false,
-                            true, false, true, true, true, false)), (String
-                            ((Ascii (true, false, true, true, false, true,
-                            true, false)), (String ((Ascii (false, true,
-                            false, false, false, true, true, false)), (String
-                            ((Ascii (true, false, true, false, false, true,
-                            true, false)), (String ((Ascii (false, true,
-                            false, false, true, true, true, false)),
-                            EmptyString))))))))))))))))))))))))))))))))))))))))))))))))))
-                            ((String ((Ascii (false, false, false, false,
-                            true, true, true, false)), (String ((Ascii (true,
-                            false, false, false, false, true, true, false)),
-                            (String ((Ascii (false, true, false, false, true,
-                            true, true, false)), (String ((Ascii (true, true,
-                            false, false, true, true, true, false)), (String
-                            ((Ascii (true, false, true, false, false, true,
-                            true, false)), (String ((Ascii (false, true,
-                            true, true, false, false, true, false)), (String
-                            ((Ascii (true, false, true, false, true, true,
-                            true, false)), (String ((Ascii (true, false,
-                            true, true, false, true, true, false)), (String
-                            ((Ascii (false, true, true, false, false, false,
-                            true, false)), (String ((Ascii (true, false,
-                            false, true, false, true, true, false)), (String
-                            ((Ascii (true, false, true, false, false, true,
-                            true, false)), (String ((Ascii (false, false,
-                            true, true, false, true, true, false)), (String
-                            ((Ascii (false, false, true, false, false, true,
-                            true, false)),
-                            EmptyString)))))))))))))))))))))))))) :: [])) :: [])))))))) }
-
-(** val l_Addenda14 : layout **)
-
-let l_Addenda14 =
-  { l_name = (String ((Ascii (true, false, false, false, false, false, true,
-    false)), (String ((Ascii (false, false, true, false, false, true, true,
-    false)), (String ((Ascii (false, false, true, false, false, true, true,
-    false)), (String ((Ascii (true, false, true, false, false, true, true,
-    false)), (String ((Ascii (false, true, true, true, false, true, true,
-    false)), (String ((Ascii (false, false, true, false, false, true, true,
-    false)), (String ((Ascii (true, false, false, false, false, true, true,
-    false)), (String ((Ascii (true, false, false, false, true, true, false,
-    false)), (String ((Ascii (false, false, true, false, true, true, false,
-    false)), EmptyString)))))))))))))))))); l_ix = IRune; l_segs = ((SLit
-    ((Npos (XI (XI (XI (XO (XI XH)))))) :: [])) :: ((SRaw (String ((Ascii
-    (false, false, true, false, true, false, true, false)), (String ((Ascii
-    (true, false, false, true, true, true, true, false)), (String ((Ascii
-    (false, false, false, false, true, true, true, false)), (String ((Ascii
-    (true, false, true, false, false, true, true, false)), (String ((Ascii
-    (true, true, false, false, false, false, true, false)), (String ((Ascii
-    (true, true, true, true, false, true, true, false)), (String ((Ascii
-    (false, false, true, false, false, true, true, false)), (String ((Ascii
-    (true, false, true, false, false, true, true, false)),
-    EmptyString))))))))))))))))) :: ((SAlpha ((String ((Ascii (false, true,
-    false, false, true, false, true, false)), (String ((Ascii (false, false,
-    true, false, false, false, true, false)), (String ((Ascii (false, true,
-    true, false, false, false, true, false)), (String ((Ascii (true, false,
-    false, true, false, false, true, false)), (String ((Ascii (false, true,
-    true, true, false, false, true, false)), (String ((Ascii (true, false,
-    false, false, false, true, true, false)), (String ((Ascii (true, false,
-    true, true, false, true, true, false)), (String ((Ascii (true, false,
-    true, false, false, true, true, false)), EmptyString)))))))))))))))), (S
-    (S (S (S (S (S (S (S (S (S (S (S (S (S (S (S (S (S (S (S (S (S (S (S (S
-    (S (S (S (S (S (S (S (S (S (S
-    O))))))))))))))))))))))))))))))))))))) :: ((SAlpha ((String ((Ascii
-    (false, true, false, false, true, false, true, false)), (String ((Ascii
-    (false, false, true, false, false, false, true, false)), (String ((Ascii
-    (false, true, true, false, false, false, true, false)), (String ((Ascii
-    (true, false, false, true, false, false, true, false)), (String ((Ascii
-    (true, false, false, true, false, false, true, false)), (String ((Ascii
-    (false, false, true, false, false, false, true, false)), (String ((Ascii
-    (false, true, true, true, false, false, true, false)), (String ((Ascii
-    (true, false, true, false, true, true, true, false)), (String ((Ascii
-    (true, false, true, true, false, true, true, false)), (String ((Ascii
-    (false, true, false, false, false, true, true, false)), (String ((Ascii
-    (true, false, true, false, false, true, true, false)), (String ((Ascii
-    (false, true, false, false, true, true, true, false)), (String ((Ascii
-    (true, false, false, false, true, false, true, false)), (String ((Ascii
-    (true, false, true, false, true, true, true, false)), (String ((Ascii
-    (true, false, false, false, false, true, true, false)), (String ((Ascii
-    (false, false, true, true, false, true, true, false)), (String ((Ascii
-    (true, false, false, true, false, true, true, false)), (String ((Ascii
-    (false, true, true, false, false, true, true, false)), (String ((Ascii
-    (true, false, false, true, false, true, true, false)), (String ((Ascii
-    (true, false, true, false, false, true, true, false)), (String ((Ascii
-    (false, true, false, false, true, true, true, false)),
-    EmptyString)))))))))))))))))))))))))))))))))))))))))), (S (S
-    O)))) :: ((SAlpha ((String ((Ascii (false, true, false, false, true,
-    false, true, false)), (String ((Ascii (false, false, true, false, false,
-    false, true, false)), (String ((Ascii (false, true, true, false, false,
-    false, true, false)), (String ((Ascii (true, false, false, true, false,
-    false, true, false)), (String ((Ascii (true, false, false, true, false,
-    false, true, false)), (String ((Ascii (false, false, true, false, false,
-    true, true, false)), (String ((Ascii (true, false, true, false, false,
-    true, true, false)), (String ((Ascii (false, true, true, true, false,
-    true, true, false)), (String ((Ascii (false, false, true, false, true,
-    true, true, false)), (String ((Ascii (true, false, false, true, false,
-    true, true, false)), (String ((Ascii (false, true, true, false, false,
-    true, true, false)), (String ((Ascii (true, false, false, true, false,
-    true, true, false)), (String ((Ascii (true, true, false, false, false,
-    true, true, false)), (String ((Ascii (true, false, false, false, false,
-    true, true, false)), (String ((Ascii (false, false, true, false, true,
-    true, true, false)), (String ((Ascii (true, false, false, true, false,
-    true, true, false)), (String ((Ascii (true, true, true, true, false,
-    true, true, false)), (String ((Ascii (false, true, true, true, false,
-    true, true, false)), EmptyString)))))))))))))))))))))))))))))))))))), (S
-    (S (S (S (S (S (S (S (S (S (S (S (S (S (S (S (S (S (S (S (S (S (S (S (S
-    (S (S (S (S (S (S (S (S (S
-    O)))))))))))))))))))))))))))))))))))) :: ((SAlpha ((String ((Ascii
-    (false, true, false, false, true, false, true, false)), (String ((Ascii
-    (false, false, true, false, false, false, true, false)), (String ((Ascii
-    (false, true, true, false, false, false, true, false)), (String ((Ascii
-    (true, false, false, true, false, false, true, false)), (String ((Ascii
-    (false, true, false, false, false, false, true, false)), (String ((Ascii
-    (false, true, false, false, true, true, true, false)), (String ((Ascii
-    (true, false, false, false, false, true, true, false)), (String ((Ascii
-    (false, true, true, true, false, true, true, false)), (String ((Ascii
-    (true, true, false, false, false, true, true, false)), (String ((Ascii
-    (false, false, false, true, false, true, true, false)), (String ((Ascii
-    (true, true, false, false, false, false, true, false)), (String ((Ascii
-    (true, true, true, true, false, true, true, false)), (String ((Ascii
-    (true, false, true, false, true, true, true, false)), (String ((Ascii
-    (false, true, true, true, false, true, true, false)), (String ((Ascii
-    (false, false, true, false, true, true, true, false)), (String ((Ascii
-    (false, true, false, false, true, true, true, false)), (String ((Ascii
-    (true, false, false, true, true, true, true, false)), (String ((Ascii
-    (true, true, false, false, false, false, true, false)), (String ((Ascii
-    (true, true, true, true, false, true, true, false)), (String ((Ascii
-    (false, false, true, false, false, true, true, false)), (String ((Ascii
-    (true, false, true, false, false, true, true, false)),
-    EmptyString)))))))))))))))))))))))))))))))))))))))))), (S (S (S
-    O))))) :: ((SLit ((Npos (XO (XO (XO (XO (XO XH)))))) :: ((Npos (XO (XO
-    (XO (XO (XO XH)))))) :: ((Npos (XO (XO (XO (XO (XO XH)))))) :: ((Npos (XO
-    (XO (XO (XO (XO XH)))))) :: ((Npos (XO (XO (XO (XO (XO XH)))))) :: ((Npos
-    (XO (XO (XO (XO (XO XH)))))) :: ((Npos (XO (XO (XO (XO (XO
-    XH)))))) :: ((Npos (XO (XO (XO (XO (XO XH)))))) :: ((Npos (XO (XO (XO (XO
-    (XO XH)))))) :: ((Npos (XO (XO (XO (XO (XO
-    XH)))))) :: []))))))))))) :: ((SNum ((String ((Ascii (true, false, true,
-    false, false, false, true, false)), (String ((Ascii (false, true, true,
-    true, false, true, true, false)), (String ((Ascii (false, false, true,
-    false, true, true, true, false)), (String ((Ascii (false, true, false,
-    false, true, true, true, false)), (String ((Ascii (true, false, false,
-    true, true, true, true, false)), (String ((Ascii (false, false, true,
-    false, false, false, true, false)), (String ((Ascii (true, false, true,
-    false, false, true, true, false)), (String ((Ascii (false, false, true,
-    false, true, true, true, false)), (String ((Ascii (true, false, false,
-    false, false, true, true, false)), (String ((Ascii (true, false, false,
-    true, false, true, true, false)), (String ((Ascii (false, false, true,
-    true, false, true, true, false)), (String ((Ascii (true, true, false,
-    false, true, false, true, false)), (String ((Ascii (true, false, true,
-    false, false, true, true, false)), (String ((Ascii (true, false, false,
-    false, true, true, true, false)), (String ((Ascii (true, false, true,
-    false, true, true, true, false)), (String ((Ascii (true, false, true,
-    false, false, true, true, false)), (String ((Ascii (false, true, true,
-    true, false, true, true, false)), (String ((Ascii (true, true, false,
-    false, false, true, true, false)), (String ((Ascii (true, false, true,
-    false, false, true, true, false)), (String ((Ascii (false, true, true,
-    true, false, false, true, false)), (String ((Ascii (true, false, true,
-    false, true, true, true, false)), (String ((Ascii (true, false, true,
-    true, false, true, true, false)), (String ((Ascii (false, true, false,
-    false, false, true, true, false)), (String ((Ascii (true, false, true,
-    false, false, true, true, false)), (String ((Ascii (false, true, false,
-    false, true, true, true, false)),
-    EmptyString)))))))))))))))))))))))))))))))))))))))))))))))))), (S (S (S
-    (S (S (S (S O))))))))) :: [])))))))); l_cuts =
-    ((mkcut O (S O) EmptyString []) :: ((mkcut (S O) (S (S (S O))) (String
-                                          ((Ascii (false, false, true, false,
-                                          true, false, true, false)), (String
-                                          ((Ascii (true, false, false, true,
-                                          true, true, true, false)), (String
-                                          ((Ascii (false, false, false,
-                                          false, true, true, true, false)),
-                                          (String ((Ascii (true, false, true,
-                                          false, false, true, true, false)),
-                                          (String ((Ascii (true, true, false,
-                                          false, false, false, true, false)),
-                                          (String ((Ascii (true, true, true,
-                                          true, false, true, true, false)),
-                                          (String ((Ascii (false, false,
-                                          true, false, false, true, true,
-                                          false)), (String ((Ascii (true,
-                                          false, true, false, false, true,
-                                          true, false)),
-                                          EmptyString)))))))))))))))) []) :: (
-    (mkcut (S (S (S O))) (S (S (S (S (S (S (S (S (S (S (S (S (S (S (S (S (S
-      (S (S (S (S (S (S (S (S (S (S (S (S (S (S (S (S (S (S (S (S (S
-      O)))))))))))))))))))))))))))))))))))))) (String ((Ascii (false, true,
-      false, false, true, false, true, false)), (String ((Ascii (false,
-      false, true, false, false, false, true, false)), (String ((Ascii
-      (false, true, true, false, false, false, true, false)), (String ((Ascii
-      (true, false, false, true, false, false, true, false)), (String ((Ascii
-      (false, true, true, true, false, false, true, false)), (String ((Ascii
-      (true, false, false, false, false, true, true, false)), (String ((Ascii
-      (true, false, true, true, false, true, true, false)), (String ((Ascii
-      (true, false, true, false, false, true, true, false)),
-      EmptyString)))))))))))))))) ((String ((Ascii (true, true, false, false,
-      true, true, true, false)), (String ((Ascii (false, false, true, false,
-      true, true, true, false)), (String ((Ascii (false, true, false, false,
-      true, true, true, false)), (String ((Ascii (true, false, false, true,
-      false, true, true, false)), (String ((Ascii (false, true, true, true,
-      false, true, true, false)), (String ((Ascii (true, true, true, false,
-      false, true, true, false)), (String ((Ascii (true, true, false, false,
-      true, true, true, false)), (String ((Ascii (false, true, true, true,
-      false, true, false, false)), (String ((Ascii (false, false, true,
-      false, true, false, true, false)), (String ((Ascii (false, true, false,
-      false, true, true, true, false)), (String ((Ascii (true, false, false,
-      true, false, true, true, false)), (String ((Ascii (true, false, true,
-      true, false, true, true, false)), (String ((Ascii (true, true, false,
-      false, true, false, true, false)), (String ((Ascii (false, false,
-      false, false, true, true, true, false)), (String ((Ascii (true, false,
-      false, false, false, true, true, false)), (String ((Ascii (true, true,
-      false, false, false, true, true, false)), (String ((Ascii (true, false,
-      true, false, false, true, true, false)),
-      EmptyString)))))))))))))))))))))))))))))))))) :: [])) :: ((mkcut (S (S
-                                                                  (S (S (S (S
-                                                                  (S (S (S (S
-                                                                  (S (S (S (S
-                                                                  (S (S (S (S
-                                                                  (S (S (S (S
-                                                                  (S (S (S (S
-                                                                  (S (S (S (S
-                                                                  (S (S (S (S
-                                                                  (S (S (S (S
-                                                                  O))))))))))))))))))))))))))))))))))))))
-                                                                  (S (S (S (S
-                                                                  (S (S (S (S
-                                                                  (S (S (S (S
-                                                                  (S (S (S (S
-                                                                  (S (S (S (S
-                                                                  (S (S (S (S
-                                                                  (S (S (S (S
-                                                                  (S (S (S (S
-                                                                  (S (S (S (S
-                                                                  (S (S (S (S
-                                                                  O))))))))))))))))))))))))))))))))))))))))
-                                                                  (String
-                                                                  ((Ascii
-                                                                  (false,
-                                                                  true,
-                                                                  false,
-                                                                  false,
-                                                                  true,
-                                                                  false,
-                                                                  true,
-                                                                  false)),
-                                                                  (String
-                                                                  ((Ascii
-                                                                  (false,
-                                                                  false,
-                                                                  true,
-                                                                  false,
-                                                                  false,
-                                                                  false,
-                                                                  true,
-                                                                  false)),
-                                                                  (String
-                                                                  ((Ascii
-                                                                  (false,
-                                                                  true, true,
-                                                                  false,
-                                                                  false,
-                                                                  false,
-                                                                  true,
-                                                                  false)),
-                                                                  (String
-                                                                  ((Ascii
-                                                                  (true,
-                                                                  false,
-                                                                  false,
-                                                                  true,
-                                                                  false,
-                                                                  false,
-                                                                  true,
-                                                                  false)),
-                                                                  (String
-                                                                  ((Ascii
-                                                                  (true,
-                                                                  false,
-                                                                  false,
-                                                                  true,
-                                                                  false,
-                                                                  false,
-                                                                  true,
-                                                                  false)),
-                                                                  (String
-                                                                  ((Ascii
-                                                                  (false,
-                                                                  false,
-                                                                  true,
-                                                                  false,
-                                                                  false,
-                                                                  false,
-                                                                  true,
-                                                                  false)),
-                                                                  (String
-                                                                  ((Ascii
-                                                                  (false,
-                                                                  true, true,
-                                                                  true,
-                                                                  false,
-                                                                  false,
-                                                                  true,
-                                                                  false)),
-                                                                  (String
-                                                                  ((Ascii
-                                                                  (true,
-                                                                  false,
-                                                                  true,
-                                                                  false,
-                                                                  true, true,
-                                                                  true,
-                                                                  false)),
-                                                                  (String
-                                                                  ((Ascii
-                                                                  (true,
-                                                                  false,
-                                                                  true, true,
-                                                                  false,
-                                                                  true, true,
-                                                                  false)),
-                                                                  (String
-                                                                  ((Ascii
-                                                                  (false,
-                                                                  true,
-                                                                  false,
-                                                                  false,
-                                                                  false,
-                                                                  true, true,
-                                                                  false)),
-                                                                  (String
-                                                                  ((Ascii
-                                                                  (true,
-                                                                  false,
-                                                                  true,
-                                                                  false,
-                                                                  false,
-                                                                  true, true,
-                                                                  false)),
-                                                                  (String
-                                                                  ((Ascii
-                                                                  (false,
-                                                                  true,
-                                                                  false,
-                                                                  false,
-                                                                  true, true,
-                                                                  true,
-                                                                  false)),
-                                                                  (String
-                                                                  ((Ascii
-                                                                  (true,
-                                                                  false,
-                                                                  false,
-                                                                  false,
-                                                                  true,
-                                                                  false,
-                                                                  true,
-                                                                  false)),
-                                                                  (String
-                                                                  ((Ascii
-                                                                  (true,
-                                                                  false,
-                                                                  true,
-                                                                  false,
-                                                                  true, true,
-                                                                  true,
-                                                                  false)),
-                                                                  (String
-                                                                  ((Ascii
-                                                                  (true,
-                                                                  false,
-                                                                  false,
-                                                                  false,
-                                                                  false,
-                                                                  true, true,
-                                                                  false)),
-                                                                  (String
-                                                                  ((Ascii
-                                                                  (false,
-                                                                  false,
-                                                                  true, true,
-                                                                  false,
-                                                                  true, true,
-                                                                  false)),
-                                                                  (String
-                                                                  ((Ascii
-                                                                  (true,
-                                                                  false,
-                                                                  false,
-                                                                  true,
-                                                                  false,
-                                                                  true, true,
-                                                                  false)),
-                                                                  (String
-                                                                  ((Ascii
-                                                                  (false,
-                                                                  true, true,
-                                                                  false,
-                                                                  false,
-                                                                  true, true,
-                                                                  false)),
-                                                                  (String
-                                                                  ((Ascii
-                                                                  (true,
-                                                                  false,
-                                                                  false,
-                                                                  true,
-                                                                  false,
-                                                                  true, true,
-                                                                  false)),
-                                                                  (String
-                                                                  ((Ascii
-                                                                  (true,
-                                                                  false,
-                                                                  true,
-                                                                  false,
-                                                                  false,
-                                                                  true, true,
-                                                                  false)),
-                                                                  (String
-                                                                  ((Ascii
-                                                                  (false,
-                                                                  true,
-                                                                  false,
-                                                                  false,
-                                                                  true, true,
-                                                                  true,
-                                                                  false)),
-                                                                  EmptyString))))))))))))))))))))))))))))))))))))))))))
-                                                                  []) :: (
-    (mkcut (S (S (S (S (S (S (S (S (S (S (S (S (S (S (S (S (S (S (S (S (S (S
-      (S (S (S (S (S (S (S (S (S (S (S (S (S (S (S (S (S (S
-      O)))))))))))))))))))))))))))))))))))))))) (S (S (S (S (S (S (S (S (S (S
-      (S (S (S (S (S (S (S (S (S (S (S (S (S (S (S (S (S (S (S (S (S (S (S (S
-      (S (S (S (S (S (S (S (S (S (S (S (S (S (S (S (S (S (S (S (S (S (S (S (S
-      (S (S (S (S (S (S (S (S (S (S (S (S (S (S (S (S
-      O))))))))))))))))))))))))))))))))))))))))))))))))))))))))))))))))))))))))))
-      (String ((Ascii (false, true, false, false, true, false, true, false)),
-      (String ((Ascii (false, false, true, false, false, false, true,
-      false)), (String ((Ascii (false, true, true, false, false, false, true,
-      false)), (String ((Ascii (true, false, false, true, false, false, true,
-      false)), (String ((Ascii (true, false, false, true, false, false, true,
-      false)), (String ((Ascii (false, false, true, false, false, true, true,
-      false)), (String ((Ascii (true, false, true, false, false, true, true,
-      false)), (String ((Ascii (false, true, true, true, false, true, true,
-      false)), (String ((Ascii (false, false, true, false, true, true, true,
-      false)), (String ((Ascii (true, false, false, true, false, true, true,
-      false)), (String ((Ascii (false, true, true, false, false, true, true,
-      false)), (String ((Ascii (true, false, false, true, false, true, true,
-      false)), (String ((Ascii (true, true, false, false, false, true, true,
-      false)), (String ((Ascii (true, false, false, false, false, true, true,
-      false)), (String ((Ascii (false, false, true, false, true, true, true,
-      false)), (String ((Ascii (true, false, false, true, false, true, true,
-      false)), (String ((Ascii (true, true, true, true, false, true, true,
-      false)), (String ((Ascii (false, true, true, true, false, true, true,
-      false)), EmptyString)))))))))))))))))))))))))))))))))))) ((String
-      ((Ascii (false, false, false, false, true, true, true, false)), (String
-      ((Ascii (true, false, false, false, false, true, true, false)), (String
-      ((Ascii (false, true, false, false, true, true, true, false)), (String
-      ((Ascii (true, true, false, false, true, true, true, false)), (String
-      ((Ascii (true, false, true, false, false, true, true, false)), (String
-      ((Ascii (true, true, false, false, true, false, true, false)), (String
-      ((Ascii (false, false, true, false, true, true, true, false)), (String
-      ((Ascii (false, true, false, false, true, true, true, false)), (String
-      ((Ascii (true, false, false, true, false, true, true, false)), (String
-      ((Ascii (false, true, true, true, false, true, true, false)), (String
-      ((Ascii (true, true, true, false, false, true, true, false)), (String
-      ((Ascii (false, true, true, false, false, false, true, false)), (String
-      ((Ascii (true, false, false, true, false, true, true, false)), (String
-      ((Ascii (true, false, true, false, false, true, true, false)), (String
-      ((Ascii (false, false, true, true, false, true, true, false)), (String
-      ((Ascii (false, false, true, false, false, true, true, false)),
-      EmptyString)))))))))))))))))))))))))))))))) :: [])) :: ((mkcut (S (S (S
-                                                                (S (S (S (S
-                                                                (S (S (S (S
-                                                                (S (S (S (S
-                                                                (S (S (S (S
-                                                                (S (S (S (S
-                                                                (S (S (S (S
-                                                                (S (S (S (S
-                                                                (S (S (S (S
-                                                                (S (S (S (S
-                                                                (S (S (S (S
-                                                                (S (S (S (S
-                                                                (S (S (S (S
-                                                                (S (S (S (S
-                                                                (S (S (S (S
-                                                                (S (S (S (S
-                                                                (S (S (S (S
-                                                                (S (S (S (S
-                                                                (S (S (S
-                                                                O))))))))))))))))))))))))))))))))))))))))))))))))))))))))))))))))))))))))))
-                                                                (S (S (S (S
-                                                                (S (S (S (S
-                                                                (S (S (S (S
-                                                                (S (S (S (S
-                                                                (S (S (S (S
-                                                                (S (S (S (S
-                                                                (S (S (S (S
-                                                                (S (S (S (S
-                                                                (S (S (S (S
-                                                                (S (S (S (S
-                                                                (S (S (S (S
-                                                                (S (S (S (S
-                                                                (S (S (S (S
-                                                                (S (S (S (S
-                                                                (S (S (S (S
-                                                                (S (S (S (S
-                                                                (S (S (S (S
-                                                                (S (S (S (S
-                                                                (S (S (S (S
-                                                                (S
-                                                                O)))))))))))))))))))))))))))))))))))))))))))))))))))))))))))))))))))))))))))))
-                                                                (String
-                                                                ((Ascii
-                                                                (false, true,
-                                                                false, false,
-                                                                true, false,
-                                                                true,
-                                                                false)),
-                                                                (String
-                                                                ((Ascii
-                                                                (false,
-                                                                false, true,
-                                                                false, false,
-                                                                false, true,
-                                                                false)),
-                                                                (String
-                                                                ((Ascii
-                                                                (false, true,
-                                                                true, false,
-                                                                false, false,
-                                                                true,
-                                                                false)),
-                                                                (String
-                                                                ((Ascii
-                                                                (true, false,
-                                                                false, true,
-                                                                false, false,
-                                                                true,
-                                                                false)),
-                                                                (String
-                                                                ((Ascii
-                                                                (false, true,
-                                                                false, false,
-                                                                false, false,
-                                                                true,
-                                                                false)),
-                                                                (String
-                                                                ((Ascii
-                                                                (false, true,
-                                                                false, false,
-                                                                true, true,
-                                                                true,
-                                                                false)),
-                                                                (String
-                                                                ((Ascii
-                                                                (true, false,
-                                                                false, false,
-                                                                false, true,
-                                                                true,
-                                                                false)),
-                                                                (String
-                                                                ((Ascii
-                                                                (false, true,
-                                                                true, true,
-                                                                false, true,
-                                                                true,
-                                                                false)),
-                                                                (String
-                                                                ((Ascii
-                                                                (true, true,
-                                                                false, false,
-                                                                false, true,
-                                                                true,
-                                                                false)),
-                                                                (String
-                                                                ((Ascii
-                                                                (false,
-                                                                false, false,
-                                                                true, false,
-                                                                true, true,
-                                                                false)),
-                                                                (String
-                                                                ((Ascii
-                                                                (true, true,
-                                                                false, false,
-                                                                false, false,
-                                                                true,
-                                                                false)),
-                                                                (String
-                                                                ((Ascii
-                                                                (true, true,
-                                                                true, true,
-                                                                false, true,
-                                                                true,
-                                                                false)),
-                                                                (String
-                                                                ((Ascii
-                                                                (true, false,
-                                                                true, false,
-                                                                true, true,
-                                                                true,
-                                                                false)),
-                                                                (String
-                                                                ((Ascii
-                                                                (false, true,
-                                                                true, true,
-                                                                false, true,
-                                                                true,
-                                                                false)),
-                                                                (String
-                                                                ((Ascii
-                                                                (false,
-                                                                false, true,
-                                                                false, true,
-                                                                true, true,
-                                                                false)),
-                                                                (String
-                                                                ((Ascii
-                                                                (false, true,
-                                                                false, false,
-                                                                true, true,
-                                                                true,
-                                                                false)),
-                                                                (String
-                                                                ((Ascii
-                                                                (true, false,
-                                                                false, true,
-                                                                true, true,
-                                                                true,
-                                                                false)),
-                                                                (String
-                                                                ((Ascii
-                                                                (true, true,
-                                                                false, false,
-                                                                false, false,
-                                                                true,
-                                                                false)),
-                                                                (String
-                                                                ((Ascii
-                                                                (true, true,
-                                                                true, true,
-                                                                false, true,
-                                                                true,
-                                                                false)),
-                                                                (String
-                                                                ((Ascii
-                                                                (false,
-                                                                false, true,
-                                                                false, false,
-                                                                true, true,
-                                                                false)),
-                                                                (String
-                                                                ((Ascii
-                                                                (true, false,
-                                                                true, false,
-                                                                false, true,
-                                                                true,
-                                                                false)),
-                                                                EmptyString))))))))))))))))))))))))))))))))))))))))))
-                                                                ((String
-                                                                ((Ascii
-                                                                (true, true,
-                                                                false, false,
-                                                                true, true,
-                                                                true,
-                                                                false)),
-                                                                (String
-                                                                ((Ascii
-                                                                (false,
-                                                                false, true,
-                                                                false, true,
-                                                                true, true,
-                                                                false)),
-                                                                (String
-                                                                ((Ascii
-                                                                (false, true,
-                                                                false, false,
-                                                                true, true,
-                                                                true,
-                                                                false)),
-                                                                (String
-                                                                ((Ascii
-                                                                (true, false,
-                                                                false, true,
-                                                                false, true,
-                                                                true,
-                                                                false)),
-                                                                (String
-                                                                ((Ascii
-                                                                (false, true,
-                                                                true, true,
-                                                                false, true,
-                                                                true,
-                                                                false)),
-                                                                (String
-                                                                ((Ascii
-                                                                (true, true,
-                                                                true, false,
-                                                                false, true,
-                                                                true,
-                                                                false)),
-                                                                (String
-                                                                ((Ascii
-                                                                (true, true,
-                                                                false, false,
-                                                                true, true,
-                                                                true,
-                                                                false)),
-                                                                (String
-                                                                ((Ascii
-                                                                (false, true,
-                                                                true, true,
-                                                                false, true,
-                                                                false,
-                                                                false)),
-                                                                (String
-                                                                ((Ascii
-                                                                (false,
-                                                                false, true,
-                                                                false, true,
-                                                                false, true,
-                                                                false)),
-                                                                (String
-                                                                ((Ascii
-                                                                (false, true,
-                                                                false, false,
-                                                                true, true,
-                                                                true,
-                                                                false)),
-                                                                (String
-                                                                ((Ascii
-                                                                (true, false,
-                                                                false, true,
-                                                                false, true,
-                                                                true,
-                                                                false)),
-                                                                (String
-                                                                ((Ascii
-                                                                (true, false,
-                                                                true, true,
-                                                                false, true,
-                                                                true,
-                                                                false)),
-                                                                (String
-                                                                ((Ascii
-                                                                (true, true,
-                                                                false, false,
-                                                                true, false,
-                                                                true,
-                                                                false)),
-                                                                (String
-                                                                ((Ascii
-                                                                (false,
-                                                                false, false,
-                                                                false, true,
-                                                                true, true,
-                                                                false)),
-                                                                (String
-                                                                ((Ascii
-                                                                (true, false,
-                                                                false, false,
-                                                                false, true,
-                                                                true,
-                                                                false)),
-                                                                (String
-                                                                ((Ascii
-                                                                (true, true,
-                                                                false, false,
-                                                                false, true,
-                                                                true,
-                                                                false)),
-                                                                (String
-                                                                ((Ascii
-                                                                (true, false,
-                                                                true, false,
-                                                                false, true,
-                                                                true,
-                                                                false)),
-                                                                EmptyString)))))))))))))))))))))))))))))))))) :: [])) :: (
-    (mkcut (S (S (S (S (S (S (S (S (S (S (S (S (S (S (S (S (S (S (S (S (S (S
-      (S (S (S (S (S (S (S (S (S (S (S (S (S (S (S (S (S (S (S (S (S (S (S (S
-      (S (S (S (S (S (S (S (S (S (S (S (S (S (S (S (S (S (S (S (S (S (S (S (S
-      (S (S (S (S (S (S (S
-      O)))))))))))))))))))))))))))))))))))))))))))))))))))))))))))))))))))))))))))))
-      (S (S (S (S (S (S (S (S (S (S (S (S (S (S (S (S (S (S (S (S (S (S (S (S
-      (S (S (S (S (S (S (S (S (S (S (S (S (S (S (S (S (S (S (S (S (S (S (S (S
-      (S (S (S (S (S (S (S (S (S (S (S (S (S (S (S (S (S (S (S (S (S (S (S (S
-      (S (S (S (S (S (S (S (S (S (S (S (S (S (S (S
-      O)))))))))))))))))))))))))))))))))))))))))))))))))))))))))))))))))))))))))))))))))))))))
-      EmptyString []) :: ((mkcut (S (S (S (S (S (S (S (S (S (S (S (S (S (S (S
-                            (S (S (S (S (S (S (S (S (S (S (S (S (S (S (S (S
-                            (S (S (S (S (S (S (S (S (S (S (S (S (S (S (S (S
-                            (S (S (S (S (S (S (S (S (S (S (S (S (S (S (S (S
-                            (S (S (S (S (S (S (S (S (S (S (S (S (S (S (S (S
-                            (S (S (S (S (S (S (S (S
-                            O)))))))))))))))))))))))))))))))))))))))))))))))))))))))))))))))))))))))))))))))))))))))
-                            (S (S (S (S (S (S (S (S (S (S (S (S (S (S (S (S
-                            (S (S (S (S (S (S (S (S (S (S (S (S (S (S (S (S
-                            (S (S (S (S (S (S (S (S (S (S (S (S (S (S (S (S
-                            (S (S (S (S (S (S (S (S (S (S (S (S (S (S (S (S
-                            (S (S (S (S (S (S (S (S (S (S (S (S (S (S (S (S
-                            (S (S (S (S (S (S (S (S (S (S (S (S (S (S
-                            O))))))))))))))))))))))))))))))))))))))))))))))))))))))))))))))))))))))))))))))))))))))))))))))
-                            (String ((Ascii (true, false, true, false, false,
-                            false, true, false)), (String ((Ascii (false,
-                            true, true, true, false, true, true, false)),
-                            (String ((Ascii (false, false, true, false, true,
-                            true, true, false)), (String ((Ascii (false,
-                            true, false, false, true, true, true, false)),
-                            (String ((Ascii (true, false, false, true, true,
-                            true, true, false)), (String ((Ascii (false,
-                            false, true, false, false, false, true, false)),
-                            (String ((Ascii (true, false, true, false, false,
-                            true, true, false)), (String ((Ascii (false,
-                            false, true, false, true, true, true, false)),
-                            (String ((Ascii (true, false, false, false,
-                            false, true, true, false)), (String ((Ascii
-                            (true, false, false, true, false, true, true,
-                            false)), (String ((Ascii (false, false, true,
-                            true, false, true, true, false)), (String ((Ascii
-                            (true, true, false, false, true, false, true,
-                            false)), (String ((Ascii (true, false, true,
-                            false, false, true, true, false)), (String
-                            ((Ascii (true, false, false, false, true, true,
-                            true, false)), (String ((Ascii (true, false,
-                            true, false, true, true, true, false)), (String
-                            ((Ascii (true, false, true, false, false, true,
-                            true, false)), (String ((Ascii (false, true,
-                            true, true, false, true, true, false)), (String
-                            ((Ascii (true, true, false, false, false, true,
-                            true, false)), (String ((Ascii (true, false,
-                            true, false, false, true, true, false)), (String
-                            ((Ascii (false, true, true, true, false, false,
-                            true, false)), (String ((Ascii (true, false,
-                            true, false, true, true, true, false)), (String
-                            ((Ascii (true, false, true, true, false, true,
-                            true, false)), (String ((Ascii (false, true,
-                            false, false, false, true, true, false)), (String
-                            ((Ascii (true, false, true, false, false, true,
-                            true, false)), (String ((Ascii (false, true,
-                            false, false, true, true, true, false)),
-                            EmptyString))))))))))))))))))))))))))))))))))))))))))))))))))
-                            ((String ((Ascii (false, false, false, false,
-                            true, true, true, false)), (String ((Ascii (true,
-                            false, false, false, false, true, true, false)),
-                            (String ((Ascii (false, true, false, false, true,
-                            true, true, false)), (String ((Ascii (true, true,
-                            false, false, true, true, true, false)), (String
-                            ((Ascii (true, false, true, false, false, true,
-                            true, false)), (String ((Ascii (false, true,
-                            true, true, false, false, true, false)), (String
-                            ((Ascii (true, false, true, false, true, true,
-                            true, false)), (String ((Ascii (true, false,
-                            true, true, false, true, true, false)), (String
-                            ((Ascii (false, true, true, false, false, false,
-                            true, false)), (String ((Ascii (true, false,
-                            false, true, false, true, true, false)), (String
-                            ((Ascii (true, false, true, false, false, true,
-                            true, false)), (String ((Ascii (false, false,
-                            true, true, false, true, true, false)), (String
-                            ((Ascii (false, false, true, false, false, true,
-                            true, false)),
-                            EmptyString)))))))))))))))))))))))))) :: [])) :: [])))))))) }
-
-(** val l_Addenda15 : layout **)
-
-let l_Addenda15 =
-  { l_name = (String ((Ascii (true, false, false, false, false, false, true,
-    false)), (String ((Ascii (false, false, true, false, false, true, true,
-    false)), (String ((Ascii (false, false, true, false, false, true, true,
-    false)), (String ((Ascii (true, false, true, false, false, true, true,
-    false)), (String ((Ascii (false, true, true, true, false, true, true,
-    false)), (String ((Ascii (false, false, true, false, false, true, true,
-    false)), (String ((Ascii (true, false, false, false, false, true, true,
-    false)), (String ((Ascii (true, false, false, false, true, true, false,
-    false)), (String ((Ascii (true, false, true, false, true, true, false,
-    false)), EmptyString)))))))))))))))))); l_ix = IRune; l_segs = ((SLit
-    ((Npos (XI (XI (XI (XO (XI XH)))))) :: [])) :: ((SRaw (String ((Ascii
-    (false, false, true, false, true, false, true, false)), (String ((Ascii
-    (true, false, false, true, true, true, true, false)), (String ((Ascii
-    (false, false, false, false, true, true, true, false)), (String ((Ascii
-    (true, false, true, false, false, true, true, false)), (String ((Ascii
-    (true, true, false, false, false, false, true, false)), (String ((Ascii
-    (true, true, true, true, false, true, true, false)), (String ((Ascii
-    (false, false, true, false, false, true, true, false)), (String ((Ascii
-    (true, false, true, false, false, true, true, false)),
-    EmptyString))))))))))))))))) :: ((SAlpha ((String ((Ascii (false, true,
-    false, false, true, false, true, false)), (String ((Ascii (true, false,
-    true, false, false, true, true, false)), (String ((Ascii (true, true,
-    false, false, false, true, true, false)), (String ((Ascii (true, false,
-    true, false, false, true, true, false)), (String ((Ascii (true, false,
-    false, true, false, true, true, false)), (String ((Ascii (false, true,
-    true, false, true, true, true, false)), (String ((Ascii (true, false,
-    true, false, false, true, true, false)), (String ((Ascii (false, true,
-    false, false, true, true, true, false)), (String ((Ascii (true, false,
-    false, true, false, false, true, false)), (String ((Ascii (false, false,
-    true, false, false, false, true, false)), (String ((Ascii (false, true,
-    true, true, false, false, true, false)), (String ((Ascii (true, false,
-    true, false, true, true, true, false)), (String ((Ascii (true, false,
-    true, true, false, true, true, false)), (String ((Ascii (false, true,
-    false, false, false, true, true, false)), (String ((Ascii (true, false,
-    true, false, false, true, true, false)), (String ((Ascii (false, true,
-    false, false, true, true, true, false)),
-    EmptyString)))))))))))))))))))))))))))))))), (S (S (S (S (S (S (S (S (S
-    (S (S (S (S (S (S O))))))))))))))))) :: ((SAlpha ((String ((Ascii (false,
-    true, false, false, true, false, true, false)), (String ((Ascii (true,
-    false, true, false, false, true, true, false)), (String ((Ascii (true,
-    true, false, false, false, true, true, false)), (String ((Ascii (true,
-    false, true, false, false, true, true, false)), (String ((Ascii (true,
-    false, false, true, false, true, true, false)), (String ((Ascii (false,
-    true, true, false, true, true, true, false)), (String ((Ascii (true,
-    false, true, false, false, true, true, false)), (String ((Ascii (false,
-    true, false, false, true, true, true, false)), (String ((Ascii (true,
-    true, false, false, true, false, true, false)), (String ((Ascii (false,
-    false, true, false, true, true, true, false)), (String ((Ascii (false,
-    true, false, false, true, true, true, false)), (String ((Ascii (true,
-    false, true, false, false, true, true, false)), (String ((Ascii (true,
-    false, true, false, false, true, true, false)), (String ((Ascii (false,
-    false, true, false, true, true, true, false)), (String ((Ascii (true,
-    false, false, false, false, false, true, false)), (String ((Ascii (false,
-    false, true, false, false, true, true, false)), (String ((Ascii (false,
-    false, true, false, false, true, true, false)), (String ((Ascii (false,
-    true, false, false, true, true, true, false)), (String ((Ascii (true,
-    false, true, false, false, true, true, false)), (String ((Ascii (true,
-    true, false, false, true, true, true, false)), (String ((Ascii (true,
-    true, false, false, true, true, true, false)),
-    EmptyString)))))))))))))))))))))))))))))))))))))))))), (S (S (S (S (S (S
-    (S (S (S (S (S (S (S (S (S (S (S (S (S (S (S (S (S (S (S (S (S (S (S (S
-    (S (S (S (S (S O))))))))))))))))))))))))))))))))))))) :: ((SLit ((Npos
-    (XO (XO (XO (XO (XO XH)))))) :: ((Npos (XO (XO (XO (XO (XO
-    XH)))))) :: ((Npos (XO (XO (XO (XO (XO XH)))))) :: ((Npos (XO (XO (XO (XO
-    (XO XH)))))) :: ((Npos (XO (XO (XO (XO (XO XH)))))) :: ((Npos (XO (XO (XO
-    (XO (XO XH)))))) :: ((Npos (XO (XO (XO (XO (XO XH)))))) :: ((Npos (XO (XO
-    (XO (XO (XO XH)))))) :: ((Npos (XO (XO (XO (XO (XO XH)))))) :: ((Npos (XO
-    (XO (XO (XO (XO XH)))))) :: ((Npos (XO (XO (XO (XO (XO XH)))))) :: ((Npos
-    (XO (XO (XO (XO (XO XH)))))) :: ((Npos (XO (XO (XO (XO (XO
-    XH)))))) :: ((Npos (XO (XO (XO (XO (XO XH)))))) :: ((Npos (XO (XO (XO (XO
-    (XO XH)))))) :: ((Npos (XO (XO (XO (XO (XO XH)))))) :: ((Npos (XO (XO (XO
-    (XO (XO XH)))))) :: ((Npos (XO (XO (XO (XO (XO XH)))))) :: ((Npos (XO (XO
-    (XO (XO (XO XH)))))) :: ((Npos (XO (XO (XO (XO (XO XH)))))) :: ((Npos (XO
-    (XO (XO (XO (XO XH)))))) :: ((Npos (XO (XO (XO (XO (XO XH)))))) :: ((Npos
-    (XO (XO (XO (XO (XO XH)))))) :: ((Npos (XO (XO (XO (XO (XO
-    XH)))))) :: ((Npos (XO (XO (XO (XO (XO XH)))))) :: ((Npos (XO (XO (XO (XO
-    (XO XH)))))) :: ((Npos (XO (XO (XO (XO (XO XH)))))) :: ((Npos (XO (XO (XO
-    (XO (XO XH)))))) :: ((Npos (XO (XO (XO (XO (XO XH)))))) :: ((Npos (XO (XO
-    (XO (XO (XO XH)))))) :: ((Npos (XO (XO (XO (XO (XO XH)))))) :: ((Npos (XO
-    (XO (XO (XO (XO XH)))))) :: ((Npos (XO (XO (XO (XO (XO XH)))))) :: ((Npos
-    (XO (XO (XO (XO (XO
-    XH)))))) :: []))))))))))))))))))))))))))))))))))) :: ((SNum ((String
-    ((Ascii (true, false, true, false, false, false, true, false)), (String
-    ((Ascii (false, true, true, true, false, true, true, false)), (String
-    ((Ascii (false, false, true, false, true, true, true, false)), (String
-    ((Ascii (false, true, false, false, true, true, true, false)), (String
-    ((Ascii (true, false, false, true, true, true, true, false)), (String
-    ((Ascii (false, false, true, false, false, false, true, false)), (String
-    ((Ascii (true, false, true, false, false, true, true, false)), (String
-    ((Ascii (false, false, true, false, true, true, true, false)), (String
-    ((Ascii (true, false, false, false, false, true, true, false)), (String
-    ((Ascii (true, false, false, true, false, true, true, false)), (String
-    ((Ascii (false, false, true, true, false, true, true, false)), (String
-    ((Ascii (true, true, false, false, true, false, true, false)), (String
-    ((Ascii (true, false, true, false, false, true, true, false)), (String
-    ((Ascii (true, false, false, false, true, true, true, false)), (String
-    ((Ascii (true, false, true, false, true, true, true, false)), (String
-    ((Ascii (true, false, true, false, false, true, true, false)), (String
-    ((Ascii (false, true, true, true, false, true, true, false)), (String
-    ((Ascii (true, true, false, false, false, true, true, false)), (String
-    ((Ascii (true, false, true, false, false, true, true, false)), (String
-    ((Ascii (false, true, true, true, false, false, true, false)), (String
-    ((Ascii (true, false, true, false, true, true, true, false)), (String
-    ((Ascii (true, false, true, true, false, true, true, false)), (String
-    ((Ascii (false, true, false, false, false, true, true, false)), (String
-    ((Ascii (true, false, true, false, false, true, true, false)), (String
-    ((Ascii (false, true, false, false, true, true, true, false)),
-    EmptyString)))))))))))))))))))))))))))))))))))))))))))))))))), (S (S (S
-    (S (S (S (S O))))))))) :: [])))))); l_cuts =
-    ((mkcut O (S O) EmptyString []) :: ((mkcut (S O) (S (S (S O))) (String
-                                          ((Ascii (false, false, true, false,
-                                          true, false, true, false)), (String
-                                          ((Ascii (true, false, false, true,
-                                          true, true, true, false)), (String
-                                          ((Ascii (false, false, false,
-                                          false, true, true, true, false)),
-                                          (String ((Ascii (true, false, true,
-                                          false, false, true, true, false)),
-                                          (String ((Ascii (true, true, false,
-                                          false, false, false, true, false)),
-                                          (String ((Ascii (true, true, true,
-                                          true, false, true, true, false)),
-                                          (String ((Ascii (false, false,
-                                          true, false, false, true, true,
-                                          false)), (String ((Ascii (true,
-                                          false, true, false, false, true,
-                                          true, false)),
-                                          EmptyString)))))))))))))))) []) :: (
-    (mkcut (S (S (S O))) (S (S (S (S (S (S (S (S (S (S (S (S (S (S (S (S (S
-      (S O)))))))))))))))))) (String ((Ascii (false, true, false, false,
-      true, false, true, false)), (String ((Ascii (true, false, true, false,
-      false, true, true, false)), (String ((Ascii (true, true, false, false,
-      false, true, true, false)), (String ((Ascii (true, false, true, false,
-      false, true, true, false)), (String ((Ascii (true, false, false, true,
-      false, true, true, false)), (String ((Ascii (false, true, true, false,
-      true, true, true, false)), (String ((Ascii (true, false, true, false,
-      false, true, true, false)), (String ((Ascii (false, true, false, false,
-      true, true, true, false)), (String ((Ascii (true, false, false, true,
-      false, false, true, false)), (String ((Ascii (false, false, true,
-      false, false, false, true, false)), (String ((Ascii (false, true, true,
-      true, false, false, true, false)), (String ((Ascii (true, false, true,
-      false, true, true, true, false)), (String ((Ascii (true, false, true,
-      true, false, true, true, false)), (String ((Ascii (false, true, false,
-      false, false, true, true, false)), (String ((Ascii (true, false, true,
-      false, false, true, true, false)), (String ((Ascii (false, true, false,
-      false, true, true, true, false)),
-      EmptyString)))))))))))))))))))))))))))))))) ((String ((Ascii (false,
-      false, false, false, true, true, true, false)), (String ((Ascii (true,
-      false, false, false, false, true, true, false)), (String ((Ascii
-      (false, true, false, false, true, true, true, false)), (String ((Ascii
-      (true, true, false, false, true, true, true, false)), (String ((Ascii
-      (true, false, true, false, false, true, true, false)), (String ((Ascii
-      (true, true, false, false, true, false, true, false)), (String ((Ascii
-      (false, false, true, false, true, true, true, false)), (String ((Ascii
-      (false, true, false, false, true, true, true, false)), (String ((Ascii
-      (true, false, false, true, false, true, true, false)), (String ((Ascii
-      (false, true, true, true, false, true, true, false)), (String ((Ascii
-      (true, true, true, false, false, true, true, false)), (String ((Ascii
-      (false, true, true, false, false, false, true, false)), (String ((Ascii
-      (true, false, false, true, false, true, true, false)), (String ((Ascii
-      (true, false, true, false, false, true, true, false)), (String ((Ascii
-      (false, false, true, true, false, true, true, false)), (String ((Ascii
-      (false, false, true, false, false, true, true, false)),
-      EmptyString)))))))))))))))))))))))))))))))) :: [])) :: ((mkcut (S (S (S
-                                                                (S (S (S (S
-                                                                (S (S (S (S
-                                                                (S (S (S (S
-                                                                (S (S (S
-                                                                O))))))))))))))))))
-                                                                (S (S (S (S
-                                                                (S (S (S (S
-                                                                (S (S (S (S
-                                                                (S (S (S (S
-                                                                (S (S (S (S
-                                                                (S (S (S (S
-                                                                (S (S (S (S
-                                                                (S (S (S (S
-                                                                (S (S (S (S
-                                                                (S (S (S (S
-                                                                (S (S (S (S
-                                                                (S (S (S (S
-                                                                (S (S (S (S
-                                                                (S
-                                                                O)))))))))))))))))))))))))))))))))))))))))))))))))))))
-                                                                (String
-                                                                ((Ascii
-                                                                (false, true,
-                                                                false, false,
-                                                                true, false,
-                                                                true,
-                                                                false)),
-                                                                (String
-                                                                ((Ascii
-                                                                (true, false,
-                                                                true, false,
-                                                                false, true,
-                                                                true,
-                                                                false)),
-                                                                (String
-                                                                ((Ascii
-                                                                (true, true,
-                                                                false, false,
-                                                                false, true,
-                                                                true,
-                                                                false)),
-                                                                (String
-                                                                ((Ascii
-                                                                (true, false,
-                                                                true, false,
-                                                                false, true,
-                                                                true,
-                                                                false)),
-                                                                (String
-                                                                ((Ascii
-                                                                (true, false,
-                                                                false, true,
-                                                                false, true,
-                                                                true,
-                                                                false)),
-                                                                (String
-                                                                ((Ascii
-                                                                (false, true,
-                                                                true, false,
-                                                                true, true,
-                                                                true,
-                                                                false)),
-                                                                (String
-                                                                ((Ascii
-                                                                (true, false,
-                                                                true, false,
-                                                                false, true,
-                                                                true,
-                                                                false)),
-                                                                (String
-                                                                ((Ascii
-                                                                (false, true,
-                                                                false, false,
-                                                                true, true,
-                                                                true,
-                                                                false)),
-                                                                (String
-                                                                ((Ascii
-                                                                (true, true,
-                                                                false, false,
-                                                                true, false,
-                                                                true,
-                                                                false)),
-                                                                (String
-                                                                ((Ascii
-                                                                (false,
-                                                                false, true,
-                                                                false, true,
-                                                                true, true,
-                                                                false)),
-                                                                (String
-                                                                ((Ascii
-                                                                (false, true,
-                                                                false, false,
-                                                                true, true,
-                                                                true,
-                                                                false)),
-                                                                (String
-                                                                ((Ascii
-                                                                (true, false,
-                                                                true, false,
-                                                                false, true,
-                                                                true,
-                                                                false)),
-                                                                (String
-                                                                ((Ascii
-                                                                (true, false,
-                                                                true, false,
-                                                                false, true,
-                                                                true,
-                                                                false)),
-                                                                (String
-                                                                ((Ascii
-                                                                (false,
-                                                                false, true,
-                                                                false, true,
-                                                                true, true,
-                                                                false)),
-                                                                (String
-                                                                ((Ascii
-                                                                (true, false,
-                                                                false, false,
-                                                                false, false,
-                                                                true,
-                                                                false)),
-                                                                (String
-                                                                ((Ascii
-                                                                (false,
-                                                                false, true,
-                                                                false, false,
-                                                                true, true,
-                                                                false)),
-                                                                (String
-                                                                ((Ascii
-                                                                (false,
-                                                                false, true,
-                                                                false, false,
-                                                                true, true,
-                                                                false)),
-                                                                (String
-                                                                ((Ascii
-                                                                (false, true,
-                                                                false, false,
-                                                                true, true,
-                                                                true,
-                                                                false)),
-                                                                (String
-                                                                ((Ascii
-                                                                (true, false,
-                                                                true, false,
-                                                                false, true,
-                                                                true,
-                                                                false)),
-                                                                (String
-                                                                ((Ascii
-                                                                (true, true,
-                                                                false, false,
-                                                                true, true,
-                                                                true,
-                                                                false)),
-                                                                (String
-                                                                ((Ascii
-                                                                (true, true,
-                                                                false, false,
-                                                                true, true,
-                                                                true,
-                                                                false)),
-                                                                EmptyString))))))))))))))))))))))))))))))))))))))))))
-                                                                ((String
-                                                                ((Ascii
-                                                                (true, true,
-                                                                false, false,
-                                                                true, true,
-                                                                true,
-                                                                false)),
-                                                                (String
-                                                                ((Ascii
-                                                                (false,
-                                                                false, true,
-                                                                false, true,
-                                                                true, true,
-                                                                false)),
-                                                                (String
-                                                                ((Ascii
-                                                                (false, true,
-                                                                false, false,
-                                                                true, true,
-                                                                true,
-                                                                false)),
-                                                                (String
-                                                                ((Ascii
-                                                                (true, false,
-                                                                false, true,
-                                                                false, true,
-                                                                true,
-                                                                false)),
-                                                                (String
-                                                                ((Ascii
-                                                                (false, true,
-                                                                true, true,
-                                                                false, true,
-                                                                true,
-                                                                false)),
-                                                                (String
-                                                                ((Ascii
-                                                                (true, true,
-                                                                true, false,
-                                                                false, true,
-                                                                true,
-                                                                false)),
-                                                                (String
-                                                                ((Ascii
-                                                                (true, true,
-                                                                false, false,
-                                                                true, true,
-                                                                true,
-                                                                false)),
-                                                                (String
-                                                                ((Ascii
-                                                                (false, true,
-                                                                true, true,
-                                                                false, true,
-                                                                false,
-                                                                false)),
-                                                                (String
-                                                                ((Ascii
-                                                                (false,
-                                                                false, true,
-                                                                false, true,
-                                                                false, true,
-                                                                false)),
-                                                                (String
-                                                                ((Ascii
-                                                                (false, true,
-                                                                false, false,
-                                                                true, true,
-                                                                true,
-                                                                false)),
-                                                                (String
-                                                                ((Ascii
-                                                                (true, false,
-                                                                false, true,
-                                                                false, true,
-                                                                true,
-                                                                false)),
-                                                                (String
-                                                                ((Ascii
-                                                                (true, false,
-                                                                true, true,
-                                                                false, true,
-                                                                true,
-                                                                false)),
-                                                                (String
-                                                                ((Ascii
-                                                                (true, true,
-                                                                false, false,
-                                                                true, false,
-                                                                true,
-                                                                false)),
-                                                                (String
-                                                                ((Ascii
-                                                                (false,
-                                                                false, false,
-                                                                false, true,
-                                                                true, true,
-                                                                false)),
-                                                                (String
-                                                                ((Ascii
-                                                                (true, false,
-                                                                false, false,
-                                                                false, true,
-                                                                true,
-                                                                false)),
-                                                                (String
-                                                                ((Ascii
-                                                                (true, true,
-                                                                false, false,
-                                                                false, true,
-                                                                true,
-                                                                false)),
-                                                                (String
-                                                                ((Ascii
-                                                                (true, false,
-                                                                true, false,
-                                                                false, true,
-                                                                true,
-                                                                false)),
-                                                                EmptyString)))))))))))))))))))))))))))))))))) :: [])) :: (
-    (mkcut (S (S (S (S (S (S (S (S (S (S (S (S (S (S (S (S (S (S (S (S (S (S
-      (S (S (S (S (S (S (S (S (S (S (S (S (S (S (S (S (S (S (S (S (S (S (S (S
-      (S (S (S (S (S (S (S
-      O))))))))))))))))))))))))))))))))))))))))))))))))))))) (S (S (S (S (S
-      (S (S (S (S (S (S (S (S (S (S (S (S (S (S (S (S (S (S (S (S (S (S (S (S
-      (S (S (S (S (S (S (S (S (S (S (S (S (S (S (S (S (S (S (S (S (S (S (S (S
-      (S (S (S (S (S (S (S (S (S (S (S (S (S (S (S (S (S (S (S (S (S (S (S (S
-      (S (S (S (S (S (S (S (S (S (S
-      O)))))))))))))))))))))))))))))))))))))))))))))))))))))))))))))))))))))))))))))))))))))))
-      EmptyString []) :: ((mkcut (S (S (S (S (S (S (S (S (S (S (S (S (S (S (S
-                            (S (S (S (S (S (S (S (S (S (S (S (S (S (S (S (S
-                            (S (S (S (S (S (S (S (S (S (S (S (S (S (S (S (S
-                            (S (S (S (S (S (S (S (S (S (S (S (S (S (S (S (S
-                            (S (S (S (S (S (S (S (S (S (S (S (S (S (S (S (S
-                            (S (S (S (S (S (S (S (S
-                            O)))))))))))))))))))))))))))))))))))))))))))))))))))))))))))))))))))))))))))))))))))))))
-                            (S (S (S (S (S (S (S (S (S (S (S (S (S (S (S (S
-                            (S (S (S (S (S (S (S (S (S (S (S (S (S (S (S (S
-                            (S (S (S (S (S (S (S (S (S (S (S (S (S (S (S (S
-                            (S (S (S (S (S (S (S (S (S (S (S (S (S (S (S (S
-                            (S (S (S (S (S (S (S (S (S (S (S (S (S (S (S (S
-                            (S (S (S (S (S (S (S (S (S (S (S (S (S (S
-                            O))))))))))))))))))))))))))))))))))))))))))))))))))))))))))))))))))))))))))))))))))))))))))))))
-                            (String ((Ascii (true, false, true, false, false,
-                            false, true, false)), (String ((Ascii (false,
-                            true, true, true, false, true, true, false)),
-                            (String ((Ascii (false, false, true, false, true,
-                            true, true, false)), (String ((Ascii (false,
-                            true, false, false, true, true, true, false)),
-                            (String ((Ascii (true, false, false, true, true,
-                            true, true, false)), (String ((Ascii (false,
-                            false, true, false, false, false, true, false)),
-                            (String ((Ascii (true, false, true, false, false,
-                            true, true, false)), (String ((Ascii (false,
-                            false, true, false, true, true, true, false)),
-                            (String ((Ascii (true, false, false, false,
-                            false, true, true, false)), (String ((Ascii
-                            (true, false, false, true, false, true, true,
-                            false)), (String ((Ascii (false, false, true,
-                            true, false, true, true, false)), (String ((Ascii
-                            (true, true, false, false, true, false, true,
-                            false)), (String ((Ascii (true, false, true,
-                            false, false, true, true, false)), (String
-                            ((Ascii (true, false, false, false, true, true,
-                            true, false)), (String ((Ascii (true, false,
-                            true, false, true, true, true, false)), (String
-                            ((Ascii (true, false, true, false, false, true,
-                            true, false)), (String ((Ascii (false, true,
-                            true, true, false, true, true, false)), (String
-                            ((Ascii (true, true, false, false, false, true,
-                            true, false)), (String ((Ascii (true, false,
-                            true, false, false, true, true, false)), (String
-                            ((Ascii (false, true, true, true, false, false,
-                            true, false)), (String ((Ascii (true, false,
-                            true, false, true, true, true, false)), (String
-                            ((Ascii (true, false, true, true, false, true,
-                            true, false)), (String ((Ascii (false, true,
-                            false, false, false, true, true, false)), (String
-                            ((Ascii (true, false, true, false, false, true,
-                            true, false)), (String ((Ascii (false, true,
-                            false, false, true, true, true, false)),
-                            EmptyString))))))))))))))))))))))))))))))))))))))))))))))))))
-                            ((String ((Ascii (false, false, false, false,
-                            true, true, true, false)), (String ((Ascii (true,
-                            false, false, false, false, true, true, false)),
-                            (String ((Ascii (false, true, false, false, true,
-                            true, true, false)), (String ((Ascii (true, true,
-                            false, false, true, true, true, false)), (String
-                            ((Ascii (true, false, true, false, false, true,
-                            true, false)), (String ((Ascii (false, true,
-                            true, true, false, false, true, false)), (String
-                            ((Ascii (true, false, true, false, true, true,
-                            true, false)), (String ((Ascii (true, false,
-                            true, true, false, true, true, false)), (String
-                            ((Ascii (false, true, true, false, false, false,
-                            true, false)), (String ((Ascii (true, false,
-                            false, true, false, true, true, false)), (String
-                            ((Ascii (true, false, true, false, false, true,
-                            true, false)), (String ((Ascii (false, false,
-                            true, true, false, true, true, false)), (String
-                            ((Ascii (false, false, true, false, false, true,
-                            true, false)),
-                            EmptyString)))))))))))))))))))))))))) :: [])) :: [])))))) }
-
-(** val l_Addenda16 : layout **)
-
-let l_Addenda16 =
-  { l_name = (String ((Ascii (true, false, false, false, false, false, true,
-    false)), (String ((Ascii (false, false, true, false, false, true, true,
-    false)), (String ((Ascii (false, false, true, false, false, true, true,
-    false)), (String ((Ascii (true, false, true, false, false, true, true,
-    false)), (String ((Ascii (false, true, true, true, false, true, true,
-    false)), (String ((Ascii (false, false, true, false, false, true, true,
-    false)), (String ((Ascii (true, false, false, false, false, true, true,
-    false)), (String ((Ascii (true, false, false, false, true, true, false,
-    false)), (String ((Ascii (false, true, true, false, true, true, false,
-    false)), EmptyString)))))))))))))))))); l_ix = IRune; l_segs = ((SLit
-    ((Npos (XI (XI (XI (XO (XI XH)))))) :: [])) :: ((SRaw (String ((Ascii
-    (false, false, true, false, true, false, true, false)), (String ((Ascii
-    (true, false, false, true, true, true, true, false)), (String ((Ascii
-    (false, false, false, false, true, true, true, false)), (String ((Ascii
-    (true, false, true, false, false, true, true, false)), (String ((Ascii
-    (true, true, false, false, false, false, true, false)), (String ((Ascii
-    (true, true, true, true, false, true, true, false)), (String ((Ascii
-    (false, false, true, false, false, true, true, false)), (String ((Ascii
-    (true, false, true, false, false, true, true, false)),
-    EmptyString))))))))))))))))) :: ((SAlpha ((String ((Ascii (false, true,
-    false, false, true, false, true, false)), (String ((Ascii (true, false,
-    true, false, false, true, true, false)), (String ((Ascii (true, true,
-    false, false, false, true, true, false)), (String ((Ascii (true, false,
-    true, false, false, true, true, false)), (String ((Ascii (true, false,
-    false, true, false, true, true, false)), (String ((Ascii (false, true,
-    true, false, true, true, true, false)), (String ((Ascii (true, false,
-    true, false, false, true, true, false)), (String ((Ascii (false, true,
-    false, false, true, true, true, false)), (String ((Ascii (true, true,
-    false, false, false, false, true, false)), (String ((Ascii (true, false,
-    false, true, false, true, true, false)), (String ((Ascii (false, false,
-    true, false, true, true, true, false)), (String ((Ascii (true, false,
-    false, true, true, true, true, false)), (String ((Ascii (true, true,
-    false, false, true, false, true, false)), (String ((Ascii (false, false,
-    true, false, true, true, true, false)), (String ((Ascii (true, false,
-    false, false, false, true, true, false)), (String ((Ascii (false, false,
-    true, false, true, true, true, false)), (String ((Ascii (true, false,
-    true, false, false, true, true, false)), (String ((Ascii (false, false,
-    false, false, true, false, true, false)), (String ((Ascii (false, true,
-    false, false, true, true, true, false)), (String ((Ascii (true, true,
-    true, true, false, true, true, false)), (String ((Ascii (false, true,
-    true, false, true, true, true, false)), (String ((Ascii (true, false,
-    false, true, false, true, true, false)), (String ((Ascii (false, true,
-    true, true, false, true, true, false)), (String ((Ascii (true, true,
-    false, false, false, true, true, false)), (String ((Ascii (true, false,
-    true, false, false, true, true, false)),
-    EmptyString)))))))))))))))))))))))))))))))))))))))))))))))))), (S (S (S
-    (S (S (S (S (S (S (S (S (S (S (S (S (S (S (S (S (S (S (S (S (S (S (S (S
-    (S (S (S (S (S (S (S (S
-    O))))))))))))))))))))))))))))))))))))) :: ((SAlpha ((String ((Ascii
-    (false, true, false, false, true, false, true, false)), (String ((Ascii
-    (true, false, true, false, false, true, true, false)), (String ((Ascii
-    (true, true, false, false, false, true, true, false)), (String ((Ascii
-    (true, false, true, false, false, true, true, false)), (String ((Ascii
-    (true, false, false, true, false, true, true, false)), (String ((Ascii
-    (false, true, true, false, true, true, true, false)), (String ((Ascii
-    (true, false, true, false, false, true, true, false)), (String ((Ascii
-    (false, true, false, false, true, true, true, false)), (String ((Ascii
-    (true, true, false, false, false, false, true, false)), (String ((Ascii
-    (true, true, true, true, false, true, true, false)), (String ((Ascii
-    (true, false, true, false, true, true, true, false)), (String ((Ascii
-    (false, true, true, true, false, true, true, false)), (String ((Ascii
-    (false, false, true, false, true, true, true, false)), (String ((Ascii
-    (false, true, false, false, true, true, true, false)), (String ((Ascii
-    (true, false, false, true, true, true, true, false)), (String ((Ascii
-    (false, false, false, false, true, false, true, false)), (String ((Ascii
-    (true, true, true, true, false, true, true, false)), (String ((Ascii
-    (true, true, false, false, true, true, true, false)), (String ((Ascii
-    (false, false, true, false, true, true, true, false)), (String ((Ascii
-    (true, false, false, false, false, true, true, false)), (String ((Ascii
-    (false, false, true, true, false, true, true, false)), (String ((Ascii
-    (true, true, false, false, false, false, true, false)), (String ((Ascii
-    (true, true, true, true, false, true, true, false)), (String ((Ascii
-    (false, false, true, false, false, true, true, false)), (String ((Ascii
-    (true, false, true, false, false, true, true, false)),
-    EmptyString)))))))))))))))))))))))))))))))))))))))))))))))))), (S (S (S
-    (S (S (S (S (S (S (S (S (S (S (S (S (S (S (S (S (S (S (S (S (S (S (S (S
-    (S (S (S (S (S (S (S (S O))))))))))))))))))))))))))))))))))))) :: ((SLit
-    ((Npos (XO (XO (XO (XO (XO XH)))))) :: ((Npos (XO (XO (XO (XO (XO
-    XH)))))) :: ((Npos (XO (XO (XO (XO (XO XH)))))) :: ((Npos (XO (XO (XO (XO
-    (XO XH)))))) :: ((Npos (XO (XO (XO (XO (XO XH)))))) :: ((Npos (XO (XO (XO
-    (XO (XO XH)))))) :: ((Npos (XO (XO (XO (XO (XO XH)))))) :: ((Npos (XO (XO
-    (XO (XO (XO XH)))))) :: ((Npos (XO (XO (XO (XO (XO XH)))))) :: ((Npos (XO
-    (XO (XO (XO (XO XH)))))) :: ((Npos (XO (XO (XO (XO (XO XH)))))) :: ((Npos
-    (XO (XO (XO (XO (XO XH)))))) :: ((Npos (XO (XO (XO (XO (XO
-    XH)))))) :: ((Npos (XO (XO (XO (XO (XO
-    XH)))))) :: []))))))))))))))) :: ((SNum ((String ((Ascii (true, false,
-    true, false, false, false, true, false)), (String ((Ascii (false, true,
-    true, true, false, true, true, false)), (String ((Ascii (false, false,
-    true, false, true, true, true, false)), (String ((Ascii (false, true,
-    false, false, true, true, true, false)), (String ((Ascii (true, false,
-    false, true, true, true, true, false)), (String ((Ascii (false, false,
-    true, false, false, false, true, false)), (String ((Ascii (true, false,
-    true, false, false, true, true, false)), (String ((Ascii (false, false,
-    true, false, true, true, true, false)), (String ((Ascii (true, false,
-    false, false, false, true, true, false)), (String ((Ascii (true, false,
-    false, true, false, true, true, false)), (String ((Ascii (false, false,
-    true, true, false, true, true, false)), (String ((Ascii (true, true,
-    false, false, true, false, true, false)), (String ((Ascii (true, false,
-    true, false, false, true, true, false)), (String ((Ascii (true, false,
-    false, false, true, true, true, false)), (String ((Ascii (true, false,
-    true, false, true, true, true, false)), (String ((Ascii (true, false,
-    true, false, false, true, true, false)), (String ((Ascii (false, true,
-    true, true, false, true, true, false)), (String ((Ascii (true, true,
-    false, false, false, true, true, false)), (String ((Ascii (true, false,
-    true, false, false, true, true, false)), (String ((Ascii (false, true,
-    true, true, false, false, true, false)), (String ((Ascii (true, false,
-    true, false, true, true, true, false)), (String ((Ascii (true, false,
-    true, true, false, true, true, false)), (String ((Ascii (false, true,
-    false, false, false, true, true, false)), (String ((Ascii (true, false,
-    true, false, false, true, true, false)), (String ((Ascii (false, true,
-    false, false, true, true, true, false)),
-    EmptyString)))))))))))))))))))))))))))))))))))))))))))))))))), (S (S (S
-    (S (S (S (S O))))))))) :: [])))))); l_cuts =
-    ((mkcut O (S O) EmptyString []) :: ((mkcut (S O) (S (S (S O))) (String
-                                          ((Ascii (false, false, true, false,
-                                          true, false, true, false)), (String
-                                          ((Ascii (true, false, false, true,
-                                          true, true, true, false)), (String
-                                          ((Ascii (false, false, false,
-                                          false, true, true, true, false)),
-                                          (String ((Ascii (true, false, true,
-                                          false, false, true, true, false)),
-                                          (String ((Ascii (true, true, false,
-                                          false, false, false, true, false)),
-                                          (String ((Ascii (true, true, true,
-                                          true, false, true, true, false)),
-                                          (String ((Ascii (false, false,
-                                          true, false, false, true, true,
-                                          false)), (String ((Ascii (true,
-                                          false, true, false, false, true,
-                                          true, false)),
-                                          EmptyString)))))))))))))))) []) :: (
-    (mkcut (S (S (S O))) (S (S (S (S (S (S (S (S (S (S (S (S (S (S (S (S (S
-      (S (S (S (S (S (S (S (S (S (S (S (S (S (S (S (S (S (S (S (S (S
-      O)))))))))))))))))))))))))))))))))))))) (String ((Ascii (false, true,
-      false, false, true, false, true, false)), (String ((Ascii (true, false,
-      true, false, false, true, true, false)), (String ((Ascii (true, true,
-      false, false, false, true, true, false)), (String ((Ascii (true, false,
-      true, false, false, true, true, false)), (String ((Ascii (true, false,
-      false, true, false, true, true, false)), (String ((Ascii (false, true,
-      true, false, true, true, true, false)), (String ((Ascii (true, false,
-      true, false, false, true, true, false)), (String ((Ascii (false, true,
-      false, false, true, true, true, false)), (String ((Ascii (true, true,
-      false, false, false, false, true, false)), (String ((Ascii (true,
-      false, false, true, false, true, true, false)), (String ((Ascii (false,
-      false, true, false, true, true, true, false)), (String ((Ascii (true,
-      false, false, true, true, true, true, false)), (String ((Ascii (true,
-      true, false, false, true, false, true, false)), (String ((Ascii (false,
-      false, true, false, true, true, true, false)), (String ((Ascii (true,
-      false, false, false, false, true, true, false)), (String ((Ascii
-      (false, false, true, false, true, true, true, false)), (String ((Ascii
-      (true, false, true, false, false, true, true, false)), (String ((Ascii
-      (false, false, false, false, true, false, true, false)), (String
-      ((Ascii (false, true, false, false, true, true, true, false)), (String
-      ((Ascii (true, true, true, true, false, true, true, false)), (String
-      ((Ascii (false, true, true, false, true, true, true, false)), (String
-      ((Ascii (true, false, false, true, false, true, true, false)), (String
-      ((Ascii (false, true, true, true, false, true, true, false)), (String
-      ((Ascii (true, true, false, false, false, true, true, false)), (String
-      ((Ascii (true, false, true, false, false, true, true, false)),
-      EmptyString)))))))))))))))))))))))))))))))))))))))))))))))))) ((String
-      ((Ascii (true, true, false, false, true, true, true, false)), (String
-      ((Ascii (false, false, true, false, true, true, true, false)), (String
-      ((Ascii (false, true, false, false, true, true, true, false)), (String
-      ((Ascii (true, false, false, true, false, true, true, false)), (String
-      ((Ascii (false, true, true, true, false, true, true, false)), (String
-      ((Ascii (true, true, true, false, false, true, true, false)), (String
-      ((Ascii (true, true, false, false, true, true, true, false)), (String
-      ((Ascii (false, true, true, true, false, true, false, false)), (String
-      ((Ascii (false, false, true, false, true, false, true, false)), (String
-      ((Ascii (false, true, false, false, true, true, true, false)), (String
-      ((Ascii (true, false, false, true, false, true, true, false)), (String
-      ((Ascii (true, false, true, true, false, true, true, false)), (String
-      ((Ascii (true, true, false, false, true, false, true, false)), (String
-      ((Ascii (false, false, false, false, true, true, true, false)), (String
-      ((Ascii (true, false, false, false, false, true, true, false)), (String
-      ((Ascii (true, true, false, false, false, true, true, false)), (String
-      ((Ascii (true, false, true, false, false, true, true, false)),
-      EmptyString)))))))))))))))))))))))))))))))))) :: [])) :: ((mkcut (S (S
-                                                                  (S (S (S (S
-                                                                  (S (S (S (S
-                                                                  (S (S (S (S
-                                                                  (S (S (S (S
-                                                                  (S (S (S (S
-                                                                  (S (S (S (S
-                                                                  (S (S (S (S
-                                                                  (S (S (S (S
-                                                                  (S (S (S (S
-                                                                  O))))))))))))))))))))))))))))))))))))))
-                                                                  (S (S (S (S
-                                                                  (S (S (S (S
-                                                                  (S (S (S (S
-                                                                  (S (S (S (S
-                                                                  (S (S (S (S
-                                                                  (S (S (S (S
-                                                                  (S (S (S (S
-                                                                  (S (S (S (S
-                                                                  (S (S (S (S
-                                                                  (S (S (S (S
-                                                                  (S (S (S (S
-                                                                  (S (S (S (S
-                                                                  (S (S (S (S
-                                                                  (S (S (S (S
-                                                                  (S (S (S (S
-                                                                  (S (S (S (S
-                                                                  (S (S (S (S
-                                                                  (S (S (S (S
-                                                                  (S
-                                                                  O)))))))))))))))))))))))))))))))))))))))))))))))))))))))))))))))))))))))))
-                                                                  (String
-                                                                  ((Ascii
-                                                                  (false,
-                                                                  true,
-                                                                  false,
-                                                                  false,
-                                                                  true,
-                                                                  false,
-                                                                  true,
-                                                                  false)),
-                                                                  (String
-                                                                  ((Ascii
-                                                                  (true,
-                                                                  false,
-                                                                  true,
-                                                                  false,
-                                                                  false,
-                                                                  true, true,
-                                                                  false)),
-                                                                  (String
-                                                                  ((Ascii
-                                                                  (true,
-                                                                  true,
-                                                                  false,
-                                                                  false,
-                                                                  false,
-                                                                  true, true,
-                                                                  false)),
-                                                                  (String
-                                                                  ((Ascii
-                                                                  (true,
-                                                                  false,
-                                                                  true,
-                                                                  false,
-                                                                  false,
-                                                                  true, true,
-                                                                  false)),
-                                                                  (String
-                                                                  ((Ascii
-                                                                  (true,
-                                                                  false,
-                                                                  false,
-                                                                  true,
-                                                                  false,
-                                                                  true, true,
-                                                                  false)),
-                                                                  (String
-                                                                  ((Ascii
-                                                                  (false,
-                                                                  true, true,
-                                                                  false,
-                                                                  true, true,
-                                                                  true,
-                                                                  false)),
-                                                                  (String
-                                                                  ((Ascii
-                                                                  (true,
-                                                                  false,
-                                                                  true,
-                                                                  false,
-                                                                  false,
-                                                                  true, true,
-                                                                  false)),
-                                                                  (String
-                                                                  ((Ascii
-                                                                  (false,
-                                                                  true,
-                                                                  false,
-                                                                  false,
-                                                                  true, true,
-                                                                  true,
-                                                                  false)),
-                                                                  (String
-                                                                  ((Ascii
-                                                                  (true,
-                                                                  true,
-                                                                  false,
-                                                                  false,
-                                                                  false,
-                                                                  false,
-                                                                  true,
-                                                                  false)),
-                                                                  (String
-                                                                  ((Ascii
-                                                                  (true,
-                                                                  true, true,
-                                                                  true,
-                                                                  false,
-                                                                  true, true,
-                                                                  false)),
-                                                                  (String
-                                                                  ((Ascii
-                                                                  (true,
-                                                                  false,
-                                                                  true,
-                                                                  false,
-                                                                  true, true,
-                                                                  true,
-                                                                  false)),
-                                                                  (String
-                                                                  ((Ascii
-                                                                  (false,
-                                                                  true, true,
-                                                                  true,
-                                                                  false,
-                                                                  true, true,
-                                                                  false)),
-                                                                  (String
-                                                                  ((Ascii
-                                                                  (false,
-                                                                  false,
-                                                                  true,
-                                                                  false,
-                                                                  true, true,
-                                                                  true,
-                                                                  false)),
-                                                                  (String
-                                                                  ((Ascii
-                                                                  (false,
-                                                                  true,
-                                                                  false,
-                                                                  false,
-                                                                  true, true,
-                                                                  true,
-                                                                  false)),
-                                                                  (String
-                                                                  ((Ascii
-                                                                  (true,
-                                                                  false,
-                                                                  false,
-                                                                  true, true,
-                                                                  true, true,
-                                                                  false)),
-                                                                  (String
-                                                                  ((Ascii
-                                                                  (false,
-                                                                  false,
-                                                                  false,
-                                                                  false,
-                                                                  true,
-                                                                  false,
-                                                                  true,
-                                                                  false)),
-                                                                  (String
-                                                                  ((Ascii
-                                                                  (true,
-                                                                  true, true,
-                                                                  true,
-                                                                  false,
-                                                                  true, true,
-                                                                  false)),
-                                                                  (String
-                                                                  ((Ascii
-                                                                  (true,
-                                                                  true,
-                                                                  false,
-                                                                  false,
-                                                                  true, true,
-                                                                  true,
-                                                                  false)),
-                                                                  (String
-                                                                  ((Ascii
-                                                                  (false,
-                                                                  false,
-                                                                  true,
-                                                                  false,
-                                                                  true, true,
-                                                                  true,
-                                                                  false)),
-                                                                  (String
-                                                                  ((Ascii
-                                                                  (true,
-                                                                  false,
-                                                                  false,
-                                                                  false,
-                                                                  false,
-                                                                  true, true,
-                                                                  false)),
-                                                                  (String
-                                                                  ((Ascii
-                                                                  (false,
-                                                                  false,
-                                                                  true, true,
-                                                                  false,
-                                                                  true, true,
-                                                                  false)),
-                                                                  (String
-                                                                  ((Ascii
-                                                                  (true,
-                                                                  true,
-                                                                  false,
-                                                                  false,
-                                                                  false,
-                                                                  false,
-                                                                  true,
-                                                                  false)),
-                                                                  (String
-                                                                  ((Ascii
-                                                                  (true,
-                                                                  true, true,
-                                                                  true,
-                                                                  false,
-                                                                  true, true,
-                                                                  false)),
-                                                                  (String
-                                                                  ((Ascii
-                                                                  (false,
-                                                                  false,
-                                                                  true,
-                                                                  false,
-                                                                  false,
-                                                                  true, true,
-                                                                  false)),
-                                                                  (String
-                                                                  ((Ascii
-                                                                  (true,
-                                                                  false,
-                                                                  true,
-                                                                  false,
-                                                                  false,
-                                                                  true, true,
-                                                                  false)),
-                                                                  EmptyString))))))))))))))))))))))))))))))))))))))))))))))))))
-                                                                  ((String
-                                                                  ((Ascii
-                                                                  (true,
-                                                                  true,
-                                                                  false,
-                                                                  false,
-                                                                  true, true,
-                                                                  true,
-                                                                  false)),
-                                                                  (String
-                                                                  ((Ascii
-                                                                  (false,
-                                                                  false,
-                                                                  true,
-                                                                  false,
-                                                                  true, true,
-                                                                  true,
-                                                                  false)),
-                                                                  (String
-                                                                  ((Ascii
-                                                                  (false,
-                                                                  true,
-                                                                  false,
-                                                                  false,
-                                                                  true, true,
-                                                                  true,
-                                                                  false)),
-                                                                  (String
-                                                                  ((Ascii
-                                                                  (true,
-                                                                  false,
-                                                                  false,
-                                                                  true,
-                                                                  false,
-                                                                  true, true,
-                                                                  false)),
-                                                                  (String
-                                                                  ((Ascii
-                                                                  (false,
-                                                                  true, true,
-                                                                  true,
-                                                                  false,
-                                                                  true, true,
-                                                                  false)),
-                                                                  (String
-                                                                  ((Ascii
-                                                                  (true,
-                                                                  true, true,
-                                                                  false,
-                                                                  false,
-                                                                  true, true,
-                                                                  false)),
-                                                                  (String
-                                                                  ((Ascii
-                                                                  (true,
-                                                                  true,
-                                                                  false,
-                                                                  false,
-                                                                  true, true,
-                                                                  true,
-                                                                  false)),
-                                                                  (String
-                                                                  ((Ascii
-                                                                  (false,
-                                                                  true, true,
-                                                                  true,
-                                                                  false,
-                                                                  true,
-                                                                  false,
-                                                                  false)),
-                                                                  (String
-                                                                  ((Ascii
-                                                                  (false,
-                                                                  false,
-                                                                  true,
-                                                                  false,
-                                                                  true,
-                                                                  false,
-                                                                  true,
-                                                                  false)),
-                                                                  (String
-                                                                  ((Ascii
-                                                                  (false,
-                                                                  true,
-                                                                  false,
-                                                                  false,
-                                                                  true, true,
-                                                                  true,
-                                                                  false)),
-                                                                  (String
-                                                                  ((Ascii
-                                                                  (true,
-                                                                  false,
-                                                                  false,
-                                                                  true,
-                                                                  false,
-                                                                  true, true,
-                                                                  false)),
-                                                                  (String
-                                                                  ((Ascii
-                                                                  (true,
-                                                                  false,
-                                                                  true, true,
-                                                                  false,
-                                                                  true, true,
-                                                                  false)),
-                                                                  (String
-                                                                  ((Ascii
-                                                                  (true,
-                                                                  true,
-                                                                  false,
-                                                                  false,
-                                                                  true,
-                                                                  false,
-                                                                  true,
-                                                                  false)),
-                                                                  (String
-                                                                  ((Ascii
-                                                                  (false,
-                                                                  false,
-                                                                  false,
-                                                                  false,
-                                                                  true, true,
-                                                                  true,
-                                                                  false)),
-                                                                  (String
-                                                                  ((Ascii
-                                                                  (true,
-                                                                  false,
-                                                                  false,
-                                                                  false,
-                                                                  false,
-                                                                  true, true,
-                                                                  false)),
-                                                                  (String
-                                                                  ((Ascii
-                                                                  (true,
-                                                                  true,
-                                                                  false,
-                                                                  false,
-                                                                  false,
-                                                                  true, true,
-                                                                  false)),
-                                                                  (String
-                                                                  ((Ascii
-                                                                  (true,
-                                                                  false,
-                                                                  true,
-                                                                  false,
-                                                                  false,
-                                                                  true, true,
-                                                                  false)),
-                                                                  EmptyString)))))))))))))))))))))))))))))))))) :: [])) :: (
-    (mkcut (S (S (S (S (S (S (S (S (S (S (S (S (S (S (S (S (S (S (S (S (S (S
-      (S (S (S (S (S (S (S (S (S (S (S (S (S (S (S (S (S (S (S (S (S (S (S (S
-      (S (S (S (S (S (S (S (S (S (S (S (S (S (S (S (S (S (S (S (S (S (S (S (S
-      (S (S (S
-      O)))))))))))))))))))))))))))))))))))))))))))))))))))))))))))))))))))))))))
-      (S (S (S (S (S (S (S (S (S (S (S (S (S (S (S (S (S (S (S (S (S (S (S (S
-      (S (S (S (S (S (S (S (S (S (S (S (S (S (S (S (S (S (S (S (S (S (S (S (S
-      (S (S (S (S (S (S (S (S (S (S (S (S (S (S (S (S (S (S (S (S (S (S (S (S
-      (S (S (S (S (S (S (S (S (S (S (S (S (S (S (S
-      O)))))))))))))))))))))))))))))))))))))))))))))))))))))))))))))))))))))))))))))))))))))))
-      EmptyString []) :: ((mkcut (S (S (S (S (S (S (S (S (S (S (S (S (S (S (S
-                            (S (S (S (S (S (S (S (S (S (S (S (S (S (S (S (S
-                            (S (S (S (S (S (S (S (S (S (S (S (S (S (S (S (S
-                            (S (S (S (S (S (S (S (S (S (S (S (S (S (S (S (S
-                            (S (S (S (S (S (S (S (S (S (S (S (S (S (S (S (S
-                            (S (S (S (S (S (S (S (S
-                            O)))))))))))))))))))))))))))))))))))))))))))))))))))))))))))))))))))))))))))))))))))))))
-                            (S (S (S (S (S (S (S (S (S (S (S (S (S (S (S (S
-                            (S (S (S (S (S (S (S (S (S (S (S (S (S (S (S (S
-                            (S (S (S (S (S (S (S (S (S (S (S (S (S (S (S (S
-                            (S (S (S (S (S (S (S (S (S (S (S (S (S (S (S (S
-                            (S (S (S (S (S (S (S (S (S (S (S (S (S (S (S (S
-                            (S (S (S (S (S (S (S (S (S (S (S (S (S (S
-                            O))))))))))))))))))))))))))))))))))))))))))))))))))))))))))))))))))))))))))))))))))))))))))))))
-                            (String ((Ascii (true, false, true, false, false,
-                            false, true, false)), (String ((Ascii (false,
-                            true, true, true, false, true, true, false)),
-                            (String ((Ascii (false, false, true, false, true,
-                            true, true, false)), (String ((Ascii (false,
-                            true, false, false, true, true, true, false)),
-                            (String ((Ascii (true, false, false, true, true,
-                            true, true, false)), (String ((Ascii (false,
-                            false, true, false, false, false, true, false)),
-                            (String ((Ascii (true, false, true, false, false,
-                            true, true, false)), (String ((Ascii (false,
-                            false, true, false, true, true, true, false)),
-                            (String ((Ascii (true, false, false, false,
-                            false, true, true, false)), (String ((Ascii
-                            (true, false, false, true, false, true, true,
-                            false)), (String ((Ascii (false, false, true,
-                            true, false, true, true, false)), (String ((Ascii
-                            (true, true, false, false, true, false, true,
-                            false)), (String ((Ascii (true, false, true,
-                            false, false, true, true, false)), (String
-                            ((Ascii (true, false, false, false, true, true,
-                            true, false)), (String ((Ascii (true, false,
-                            true, false, true, true, true, false)), (String
-                            ((Ascii (true, false, true, false, false, true,
-                            true, false)), (String ((Ascii (false, true,
-                            true, true, false, true, true, false)), (String
-                            ((Ascii (true, true, false, false, false, true,
-                            true, false)), (String ((Ascii (true, false,
-                            true, false, false, true, true, false)), (String
-                            ((Ascii (false, true, true, true, false, false,
-                            true, false)), (String ((Ascii (true, false,
-                            true, false, true, true, true, false)), (String
-                            ((Ascii (true, false, true, true, false, true,
-                            true, false)), (String ((Ascii (false, true,
-                            false, false, false, true, true, false)), (String
-                            ((Ascii (true, false, true, false, false, true,
-                            true, false)), (String ((Ascii (false, true,
-                            false, false, true, true, true, false)),
-                            EmptyString))))))))))))))))))))))))))))))))))))))))))))))))))
-                            ((String ((Ascii (false, false, false, false,
-                            true, true, true, false)), (String ((Ascii (true,
-                            false, false, false, false, true, true, false)),
-                            (String ((Ascii (false, true, false, false, true,
-                            true, true, false)), (String ((Ascii (true, true,
-                            false, false, true, true, true, false)), (String
-                            ((Ascii (true, false, true, false, false, true,
-                            true, false)), (String ((Ascii (false, true,
-                            true, true, false, false, true, false)), (String
-                            ((Ascii (true, false, true, false, true, true,
-                            true, false)), (String ((Ascii (true, false,
-                            true, true, false, true, true, false)), (String
-                            ((Ascii (false, true, true, false, false, false,
-                            true, false)), (String ((Ascii (true, false,
-                            false, true, false, true, true, false)), (String
-                            ((Ascii (true, false, true, false, false, true,
-                            true, false)), (String ((Ascii (false, false,
-                            true, true, false, true, true, false)), (String
-                            ((Ascii (false, false, true, false, false, true,
-                            true, false)),
-                            EmptyString)))))))))))))))))))))))))) :: [])) :: [])))))) }
-
-(** val l_Addenda17 : layout **)
-
-let l_Addenda17 =
-  { l_name = (String ((Ascii (true, false, false, false, false, false, true,
-    false)), (String ((Ascii (false, false, true, false, false, true, true,
-    false)), (String ((Ascii (false, false, true, false, false, true, true,
-    false)), (String ((Ascii (true, false, true, false, false, true, true,
-    false)), (String ((Ascii (false, true, true, true, false, true, true,
-    false)), (String ((Ascii (false, false, true, false, false, true, true,
-    false)), (String ((Ascii (true, false, false, false, false, true, true,
-    false)), (String ((Ascii (true, false, false, false, true, true, false,
-    false)), (String ((Ascii (true, true, true, false, true, true, false,
-    false)), EmptyString)))))))))))))))))); l_ix = IRune; l_segs = ((SLit
-    ((Npos (XI (XI (XI (XO (XI XH)))))) :: [])) :: ((SRaw (String ((Ascii
-    (false, false, true, false, true, false, true, false)), (String ((Ascii
-    (true, false, false, true, true, true, true, false)), (String ((Ascii
-    (false, false, false, false, true, true, true, false)), (String ((Ascii
-    (true, false, true, false, false, true, true, false)), (String ((Ascii
-    (true, true, false, false, false, false, true, false)), (String ((Ascii
-    (true, true, true, true, false, true, true, false)), (String ((Ascii
-    (false, false, true, false, false, true, true, false)), (String ((Ascii
-    (true, false, true, false, false, true, true, false)),
-    EmptyString))))))))))))))))) :: ((SAlpha ((String ((Ascii (false, false,
-    false, false, true, false, true, false)), (String ((Ascii (true, false,
-    false, false, false, true, true, false)), (String ((Ascii (true, false,
-    false, true, true, true, true, false)), (String ((Ascii (true, false,
-    true, true, false, true, true, false)), (String ((Ascii (true, false,
-    true, false, false, true, true, false)), (String ((Ascii (false, true,
-    true, true, false, true, true, false)), (String ((Ascii (false, false,
-    true, false, true, true, true, false)), (String ((Ascii (false, true,
-    false, false, true, false, true, false)), (String ((Ascii (true, false,
-    true, false, false, true, true, false)), (String ((Ascii (false, false,
-    true, true, false, true, true, false)), (String ((Ascii (true, false,
-    false, false, false, true, true, false)), (String ((Ascii (false, false,
-    true, false, true, true, true, false)), (String ((Ascii (true, false,
-    true, false, false, true, true, false)), (String ((Ascii (false, false,
-    true, false, false, true, true, false)), (String ((Ascii (true, false,
-    false, true, false, false, true, false)), (String ((Ascii (false, true,
-    true, true, false, true, true, false)), (String ((Ascii (false, true,
-    true, false, false, true, true, false)), (String ((Ascii (true, true,
-    true, true, false, true, true, false)), (String ((Ascii (false, true,
-    false, false, true, true, true, false)), (String ((Ascii (true, false,
-    true, true, false, true, true, false)), (String ((Ascii (true, false,
-    false, false, false, true, true, false)), (String ((Ascii (false, false,
-    true, false, true, true, true, false)), (String ((Ascii (true, false,
-    false, true, false, true, true, false)), (String ((Ascii (true, true,
-    true, true, false, true, true, false)), (String ((Ascii (false, true,
-    true, true, false, true, true, false)),
-    EmptyString)))))))))))))))))))))))))))))))))))))))))))))))))), (S (S (S
-    (S (S (S (S (S (S (S (S (S (S (S (S (S (S (S (S (S (S (S (S (S (S (S (S
-    (S (S (S (S (S (S (S (S (S (S (S (S (S (S (S (S (S (S (S (S (S (S (S (S
-    (S (S (S (S (S (S (S (S (S (S (S (S (S (S (S (S (S (S (S (S (S (S (S (S
-    (S (S (S (S (S
-    O)))))))))))))))))))))))))))))))))))))))))))))))))))))))))))))))))))))))))))))))))) :: ((SNum
-    ((String ((Ascii (true, true, false, false, true, false, true, false)),
-    (String ((Ascii (true, false, true, false, false, true, true, false)),
-    (String ((Ascii (true, false, false, false, true, true, true, false)),
-    (String ((Ascii (true, false, true, false, true, true, true, false)),
-    (String ((Ascii (true, false, true, false, false, true, true, false)),
-    (String ((Ascii (false, true, true, true, false, true, true, false)),
-    (String ((Ascii (true, true, false, false, false, true, true, false)),
-    (String ((Ascii (true, false, true, false, false, true, true, false)),
-    (String ((Ascii (false, true, true, true, false, false, true, false)),
-    (String ((Ascii (true, false, true, false, true, true, true, false)),
-    (String ((Ascii (true, false, true, true, false, true, true, false)),
-    (String ((Ascii (false, true, false, false, false, true, true, false)),
-    (String ((Ascii (true, false, true, false, false, true, true, false)),
-    (String ((Ascii (false, true, false, false, true, true, true, false)),
-    EmptyString)))))))))))))))))))))))))))), (S (S (S (S O)))))) :: ((SNum
-    ((String ((Ascii (true, false, true, false, false, false, true, false)),
-    (String ((Ascii (false, true, true, true, false, true, true, false)),
-    (String ((Ascii (false, false, true, false, true, true, true, false)),
-    (String ((Ascii (false, true, false, false, true, true, true, false)),
-    (String ((Ascii (true, false, false, true, true, true, true, false)),
-    (String ((Ascii (false, false, true, false, false, false, true, false)),
-    (String ((Ascii (true, false, true, false, false, true, true, false)),
-    (String ((Ascii (false, false, true, false, true, true, true, false)),
-    (String ((Ascii (true, false, false, false, false, true, true, false)),
-    (String ((Ascii (true, false, false, true, false, true, true, false)),
-    (String ((Ascii (false, false, true, true, false, true, true, false)),
-    (String ((Ascii (true, true, false, false, true, false, true, false)),
-    (String ((Ascii (true, false, true, false, false, true, true, false)),
-    (String ((Ascii (true, false, false, false, true, true, true, false)),
-    (String ((Ascii (true, false, true, false, true, true, true, false)),
-    (String ((Ascii (true, false, true, false, false, true, true, false)),
-    (String ((Ascii (false, true, true, true, false, true, true, false)),
-    (String ((Ascii (true, true, false, false, false, true, true, false)),
-    (String ((Ascii (true, false, true, false, false, true, true, false)),
-    (String ((Ascii (false, true, true, true, false, false, true, false)),
-    (String ((Ascii (true, false, true, false, true, true, true, false)),
-    (String ((Ascii (true, false, true, true, false, true, true, false)),
-    (String ((Ascii (false, true, false, false, false, true, true, false)),
-    (String ((Ascii (true, false, true, false, false, true, true, false)),
-    (String ((Ascii (false, true, false, false, true, true, true, false)),
-    EmptyString)))))))))))))))))))))))))))))))))))))))))))))))))), (S (S (S
-    (S (S (S (S O))))))))) :: []))))); l_cuts =
-    ((mkcut O (S O) EmptyString []) :: ((mkcut (S O) (S (S (S O))) (String
-                                          ((Ascii (false, false, true, false,
-                                          true, false, true, false)), (String
-                                          ((Ascii (true, false, false, true,
-                                          true, true, true, false)), (String
-                                          ((Ascii (false, false, false,
-                                          false, true, true, true, false)),
-                                          (String ((Ascii (true, false, true,
-                                          false, false, true, true, false)),
-                                          (String ((Ascii (true, true, false,
-                                          false, false, false, true, false)),
-                                          (String ((Ascii (true, true, true,
-                                          true, false, true, true, false)),
-                                          (String ((Ascii (false, false,
-                                          true, false, false, true, true,
-                                          false)), (String ((Ascii (true,
-                                          false, true, false, false, true,
-                                          true, false)),
-                                          EmptyString)))))))))))))))) []) :: (
-    (mkcut (S (S (S O))) (S (S (S (S (S (S (S (S (S (S (S (S (S (S (S (S (S
-      (S (S (S (S (S (S (S (S (S (S (S (S (S (S (S (S (S (S (S (S (S (S (S (S
-      (S (S (S (S (S (S (S (S (S (S (S (S (S (S (S (S (S (S (S (S (S (S (S (S
-      (S (S (S (S (S (S (S (S (S (S (S (S (S (S (S (S (S (S
-      O)))))))))))))))))))))))))))))))))))))))))))))))))))))))))))))))))))))))))))))))))))
-      (String ((Ascii (false, false, false, false, true, false, true,
-      false)), (String ((Ascii (true, false, false, false, false, true, true,
-      false)), (String ((Ascii (true, false, false, true, true, true, true,
-      false)), (String ((Ascii (true, false, true, true, false, true, true,
-      false)), (String ((Ascii (true, false, true, false, false, true, true,
-      false)), (String ((Ascii (false, true, true, true, false, true, true,
-      false)), (String ((Ascii (false, false, true, false, true, true, true,
-      false)), (String ((Ascii (false, true, false, false, true, false, true,
-      false)), (String ((Ascii (true, false, true, false, false, true, true,
-      false)), (String ((Ascii (false, false, true, true, false, true, true,
-      false)), (String ((Ascii (true, false, false, false, false, true, true,
-      false)), (String ((Ascii (false, false, true, false, true, true, true,
-      false)), (String ((Ascii (true, false, true, false, false, true, true,
-      false)), (String ((Ascii (false, false, true, false, false, true, true,
-      false)), (String ((Ascii (true, false, false, true, false, false, true,
-      false)), (String ((Ascii (false, true, true, true, false, true, true,
-      false)), (String ((Ascii (false, true, true, false, false, true, true,
-      false)), (String ((Ascii (true, true, true, true, false, true, true,
-      false)), (String ((Ascii (false, true, false, false, true, true, true,
-      false)), (String ((Ascii (true, false, true, true, false, true, true,
-      false)), (String ((Ascii (true, false, false, false, false, true, true,
-      false)), (String ((Ascii (false, false, true, false, true, true, true,
-      false)), (String ((Ascii (true, false, false, true, false, true, true,
-      false)), (String ((Ascii (true, true, true, true, false, true, true,
-      false)), (String ((Ascii (false, true, true, true, false, true, true,
-      false)), EmptyString))))))))))))))))))))))))))))))))))))))))))))))))))
-      ((String ((Ascii (true, true, false, false, true, true, true, false)),
-      (String ((Ascii (false, false, true, false, true, true, true, false)),
-      (String ((Ascii (false, true, false, false, true, true, true, false)),
-      (String ((Ascii (true, false, false, true, false, true, true, false)),
-      (String ((Ascii (false, true, true, true, false, true, true, false)),
-      (String ((Ascii (true, true, true, false, false, true, true, false)),
-      (String ((Ascii (true, true, false, false, true, true, true, false)),
-      (String ((Ascii (false, true, true, true, false, true, false, false)),
-      (String ((Ascii (false, false, true, false, true, false, true, false)),
-      (String ((Ascii (false, true, false, false, true, true, true, false)),
-      (String ((Ascii (true, false, false, true, false, true, true, false)),
-      (String ((Ascii (true, false, true, true, false, true, true, false)),
-      (String ((Ascii (true, true, false, false, true, false, true, false)),
-      (String ((Ascii (false, false, false, false, true, true, true, false)),
-      (String ((Ascii (true, false, false, false, false, true, true, false)),
-      (String ((Ascii (true, true, false, false, false, true, true, false)),
-      (String ((Ascii (true, false, true, false, false, true, true, false)),
-      EmptyString)))))))))))))))))))))))))))))))))) :: [])) :: ((mkcut (S (S
-                                                                  (S (S (S (S
-                                                                  (S (S (S (S
-                                                                  (S (S (S (S
-                                                                  (S (S (S (S
-                                                                  (S (S (S (S
-                                                                  (S (S (S (S
-                                                                  (S (S (S (S
-                                                                  (S (S (S (S
-                                                                  (S (S (S (S
-                                                                  (S (S (S (S
-                                                                  (S (S (S (S
-                                                                  (S (S (S (S
-                                                                  (S (S (S (S
-                                                                  (S (S (S (S
-                                                                  (S (S (S (S
-                                                                  (S (S (S (S
-                                                                  (S (S (S (S
-                                                                  (S (S (S (S
-                                                                  (S (S (S (S
-                                                                  (S (S (S (S
-                                                                  (S
-                                                                  O)))))))))))))))))))))))))))))))))))))))))))))))))))))))))))))))))))))))))))))))))))
-                                                                  (S (S (S (S
-                                                                  (S (S (S (S
-                                                                  (S (S (S (S
-                                                                  (S (S (S (S
-                                                                  (S (S (S (S
-                                                                  (S (S (S (S
-                                                                  (S (S (S (S
-                                                                  (S (S (S (S
-                                                                  (S (S (S (S
-                                                                  (S (S (S (S
-                                                                  (S (S (S (S
-                                                                  (S (S (S (S
-                                                                  (S (S (S (S
-                                                                  (S (S (S (S
-                                                                  (S (S (S (S
-                                                                  (S (S (S (S
-                                                                  (S (S (S (S
-                                                                  (S (S (S (S
-                                                                  (S (S (S (S
-                                                                  (S (S (S (S
-                                                                  (S (S (S (S
-                                                                  (S (S (S
-                                                                  O)))))))))))))))))))))))))))))))))))))))))))))))))))))))))))))))))))))))))))))))))))))))
-                                                                  (String
-                                                                  ((Ascii
-                                                                  (true,
-                                                                  true,
-                                                                  false,
-                                                                  false,
-                                                                  true,
-                                                                  false,
-                                                                  true,
-                                                                  false)),
-                                                                  (String
-                                                                  ((Ascii
-                                                                  (true,
-                                                                  false,
-                                                                  true,
-                                                                  false,
-                                                                  false,
-                                                                  true, true,
-                                                                  false)),
-                                                                  (String
-                                                                  ((Ascii
-                                                                  (true,
-                                                                  false,
-                                                                  false,
-                                                                  false,
-                                                                  true, true,
-                                                                  true,
-                                                                  false)),
-                                                                  (String
-                                                                  ((Ascii
-                                                                  (true,
-                                                                  false,
-                                                                  true,
-                                                                  false,
-                                                                  true, true,
-                                                                  true,
-                                                                  false)),
-                                                                  (String
-                                                                  ((Ascii
-                                                                  (true,
-                                                                  false,
-                                                                  true,
-                                                                  false,
-                                                                  false,
-                                                                  true, true,
-                                                                  false)),
-                                                                  (String
-                                                                  ((Ascii
-                                                                  (false,
-                                                                  true, true,
-                                                                  true,
-                                                                  false,
-                                                                  true, true,
-                                                                  false)),
-                                                                  (String
-                                                                  ((Ascii
-                                                                  (true,
-                                                                  true,
-                                                                  false,
-                                                                  false,
-                                                                  false,
-                                                                  true, true,
-                                                                  false)),
-                                                                  (String
-                                                                  ((Ascii
-                                                                  (true,
-                                                                  false,
-                                                                  true,
-                                                                  false,
-                                                                  false,
-                                                                  true, true,
-                                                                  false)),
-                                                                  (String
-                                                                  ((Ascii
-                                                                  (false,
-                                                                  true, true,
-                                                                  true,
-                                                                  false,
-                                                                  false,
-                                                                  true,
-                                                                  false)),
-                                                                  (String
-                                                                  ((Ascii
-                                                                  (true,
-                                                                  false,
-                                                                  true,
-                                                                  false,
-                                                                  true, true,
-                                                                  true,
-                                                                  false)),
-                                                                  (String
-                                                                  ((Ascii
-                                                                  (true,
-                                                                  false,
-                                                                  true, true,
-                                                                  false,
-                                                                  true, true,
-                                                                  false)),
-                                                                  (String
-                                                                  ((Ascii
-                                                                  (false,
-                                                                  true,
-                                                                  false,
-                                                                  false,
-                                                                  false,
-                                                                  true, true,
-                                                                  false)),
-                                                                  (String
-                                                                  ((Ascii
-                                                                  (true,
-                                                                  false,
-                                                                  true,
-                                                                  false,
-                                                                  false,
-                                                                  true, true,
-                                                                  false)),
-                                                                  (String
-                                                                  ((Ascii
-                                                                  (false,
-                                                                  true,
-                                                                  false,
-                                                                  false,
-                                                                  true, true,
-                                                                  true,
-                                                                  false)),
-                                                                  EmptyString))))))))))))))))))))))))))))
-                                                                  ((String
-                                                                  ((Ascii
-                                                                  (false,
-                                                                  false,
-                                                                  false,
-                                                                  false,
-                                                                  true, true,
-                                                                  true,
-                                                                  false)),
-                                                                  (String
-                                                                  ((Ascii
-                                                                  (true,
-                                                                  false,
-                                                                  false,
-                                                                  false,
-                                                                  false,
-                                                                  true, true,
-                                                                  false)),
-                                                                  (String
-                                                                  ((Ascii
-                                                                  (false,
-                                                                  true,
-                                                                  false,
-                                                                  false,
-                                                                  true, true,
-                                                                  true,
-                                                                  false)),
-                                                                  (String
-                                                                  ((Ascii
-                                                                  (true,
-                                                                  true,
-                                                                  false,
-                                                                  false,
-                                                                  true, true,
-                                                                  true,
-                                                                  false)),
-                                                                  (String
-                                                                  ((Ascii
-                                                                  (true,
-                                                                  false,
-                                                                  true,
-                                                                  false,
-                                                                  false,
-                                                                  true, true,
-                                                                  false)),
-                                                                  (String
-                                                                  ((Ascii
-                                                                  (false,
-                                                                  true, true,
-                                                                  true,
-                                                                  false,
-                                                                  false,
-                                                                  true,
-                                                                  false)),
-                                                                  (String
-                                                                  ((Ascii
-                                                                  (true,
-                                                                  false,
-                                                                  true,
-                                                                  false,
-                                                                  true, true,
-                                                                  true,
-                                                                  false)),
-                                                                  (String
-                                                                  ((Ascii
-                                                                  (true,
-                                                                  false,
-                                                                  true, true,
-                                                                  false,
-                                                                  true, true,
-                                                                  false)),
-                                                                  (String
-                                                                  ((Ascii
-                                                                  (false,
-                                                                  true, true,
-                                                                  false,
-                                                                  false,
-                                                                  false,
-                                                                  true,
-                                                                  false)),
-                                                                  (String
-                                                                  ((Ascii
-                                                                  (true,
-                                                                  false,
-                                                                  false,
-                                                                  true,
-                                                                  false,
-                                                                  true, true,
-                                                                  false)),
-                                                                  (String
-                                                                  ((Ascii
-                                                                  (true,
-                                                                  false,
-                                                                  true,
-                                                                  false,
-                                                                  false,
-                                                                  true, true,
-                                                                  false)),
-                                                                  (String
-                                                                  ((Ascii
-                                                                  (false,
-                                                                  false,
-                                                                  true, true,
-                                                                  false,
-                                                                  true, true,
-                                                                  false)),
-                                                                  (String
-                                                                  ((Ascii
-                                                                  (false,
-                                                                  false,
-                                                                  true,
-                                                                  false,
-                                                                  false,
-                                                                  true, true,
-                                                                  false)),
-                                                                  EmptyString)))))))))))))))))))))))))) :: [])) :: (
-    (mkcut (S (S (S (S (S (S (S (S (S (S (S (S (S (S (S (S (S (S (S (S (S (S
-      (S (S (S (S (S (S (S (S (S (S (S (S (S (S (S (S (S (S (S (S (S (S (S (S
-      (S (S (S (S (S (S (S (S (S (S (S (S (S (S (S (S (S (S (S (S (S (S (S (S
-      (S (S (S (S (S (S (S (S (S (S (S (S (S (S (S (S (S
-      O)))))))))))))))))))))))))))))))))))))))))))))))))))))))))))))))))))))))))))))))))))))))
-      (S (S (S (S (S (S (S (S (S (S (S (S (S (S (S (S (S (S (S (S (S (S (S (S
-      (S (S (S (S (S (S (S (S (S (S (S (S (S (S (S (S (S (S (S (S (S (S (S (S
-      (S (S (S (S (S (S (S (S (S (S (S (S (S (S (S (S (S (S (S (S (S (S (S (S
-      (S (S (S (S (S (S (S (S (S (S (S (S (S (S (S (S (S (S (S (S (S (S
-      O))))))))))))))))))))))))))))))))))))))))))))))))))))))))))))))))))))))))))))))))))))))))))))))
-      (String ((Ascii (true, false, true, false, false, false, true, false)),
-      (String ((Ascii (false, true, true, true, false, true, true, false)),
-      (String ((Ascii (false, false, true, false, true, true, true, false)),
-      (String ((Ascii (false, true, false, false, true, true, true, false)),
-      (String ((Ascii (true, false, false, true, true, true, true, false)),
-      (String ((Ascii (false, false, true, false, false, false, true,
-      false)), (String ((Ascii (true, false, true, false, false, true, true,
-      false)), (String ((Ascii (false, false, true, false, true, true, true,
-      false)), (String ((Ascii (true, false, false, false, false, true, true,
-      false)), (String ((Ascii (true, false, false, true, false, true, true,
-      false)), (String ((Ascii (false, false, true, true, false, true, true,
-      false)), (String ((Ascii (true, true, false, false, true, false, true,
-      false)), (String ((Ascii (true, false, true, false, false, true, true,
-      false)), (String ((Ascii (true, false, false, false, true, true, true,
-      false)), (String ((Ascii (true, false, true, false, true, true, true,
-      false)), (String ((Ascii (true, false, true, false, false, true, true,
-      false)), (String ((Ascii (false, true, true, true, false, true, true,
-      false)), (String ((Ascii (true, true, false, false, false, true, true,
-      false)), (String ((Ascii (true, false, true, false, false, true, true,
-      false)), (String ((Ascii (false, true, true, true, false, false, true,
-      false)), (String ((Ascii (true, false, true, false, true, true, true,
-      false)), (String ((Ascii (true, false, true, true, false, true, true,
-      false)), (String ((Ascii (false, true, false, false, false, true, true,
-      false)), (String ((Ascii (true, false, true, false, false, true, true,
-      false)), (String ((Ascii (false, true, false, false, true, true, true,
-      false)), EmptyString))))))))))))))))))))))))))))))))))))))))))))))))))
-      ((String ((Ascii (false, false, false, false, true, true, true,
-      false)), (String ((Ascii (true, false, false, false, false, true, true,
-      false)), (String ((Ascii (false, true, false, false, true, true, true,
-      false)), (String ((Ascii (true, true, false, false, true, true, true,
-      false)), (String ((Ascii (true, false, true, false, false, true, true,
-      false)), (String ((Ascii (false, true, true, true, false, false, true,
-      false)), (String ((Ascii (true, false, true, false, true, true, true,
-      false)), (String ((Ascii (true, false, true, true, false, true, true,
-      false)), (String ((Ascii (false, true, true, false, false, false, true,
-      false)), (String ((Ascii (true, false, false, true, false, true, true,
-      false)), (String ((Ascii (true, false, true, false, false, true, true,
-      false)), (String ((Ascii (false, false, true, true, false, true, true,
-      false)), (String ((Ascii (false, false, true, false, false, true, true,
-      false)), EmptyString)))))))))))))))))))))))))) :: [])) :: []))))) }
-
-(** val l_Addenda18 : layout **)
-
-let l_Addenda18 =
-  { l_name = (String ((Ascii (true, false, false, false, false, false, true,
-    false)), (String ((Ascii (false, false, true, false, false, true, true,
-    false)), (String ((Ascii (false, false, true, false, false, true, true,
-    false)), (String ((Ascii (true, false, true, false, false, true, true,
-    false)), (String ((Ascii (false, true, true, true, false, true, true,
-    false)), (String ((Ascii (false, false, true, false, false, true, true,
-    false)), (String ((Ascii (true, false, false, false, false, true, true,
-    false)), (String ((Ascii (true, false, false, false, true, true, false,
-    false)), (String ((Ascii (false, false, false, true, true, true, false,
-    false)), EmptyString)))))))))))))))))); l_ix = IRune; l_segs = ((SLit
-    ((Npos (XI (XI (XI (XO (XI XH)))))) :: [])) :: ((SRaw (String ((Ascii
-    (false, false, true, false, true, false, true, false)), (String ((Ascii
-    (true, false, false, true, true, true, true, false)), (String ((Ascii
-    (false, false, false, false, true, true, true, false)), (String ((Ascii
-    (true, false, true, false, false, true, true, false)), (String ((Ascii
-    (true, true, false, false, false, false, true, false)), (String ((Ascii
-    (true, true, true, true, false, true, true, false)), (String ((Ascii
-    (false, false, true, false, false, true, true, false)), (String ((Ascii
-    (true, false, true, false, false, true, true, false)),
-    EmptyString))))))))))))))))) :: ((SAlpha ((String ((Ascii (false, true,
-    true, false, false, false, true, false)), (String ((Ascii (true, true,
-    true, true, false, true, true, false)), (String ((Ascii (false, true,
-    false, false, true, true, true, false)), (String ((Ascii (true, false,
-    true, false, false, true, true, false)), (String ((Ascii (true, false,
-    false, true, false, true, true, false)), (String ((Ascii (true, true,
-    true, false, false, true, true, false)), (String ((Ascii (false, true,
-    true, true, false, true, true, false)), (String ((Ascii (true, true,
-    false, false, false, false, true, false)), (String ((Ascii (true, true,
-    true, true, false, true, true, false)), (String ((Ascii (false, true,
-    false, false, true, true, true, false)), (String ((Ascii (false, true,
-    false, false, true, true, true, false)), (String ((Ascii (true, false,
-    true, false, false, true, true, false)), (String ((Ascii (true, true,
-    false, false, true, true, true, false)), (String ((Ascii (false, false,
-    false, false, true, true, true, false)), (String ((Ascii (true, true,
-    true, true, false, true, true, false)), (String ((Ascii (false, true,
-    true, true, false, true, true, false)), (String ((Ascii (false, false,
-    true, false, false, true, true, false)), (String ((Ascii (true, false,
-    true, false, false, true, true, false)), (String ((Ascii (false, true,
-    true, true, false, true, true, false)), (String ((Ascii (false, false,
-    true, false, true, true, true, false)), (String ((Ascii (false, true,
-    false, false, false, false, true, false)), (String ((Ascii (true, false,
-    false, false, false, true, true, false)), (String ((Ascii (false, true,
-    true, true, false, true, true, false)), (String ((Ascii (true, true,
-    false, true, false, true, true, false)), (String ((Ascii (false, true,
-    true, true, false, false, true, false)), (String ((Ascii (true, false,
-    false, false, false, true, true, false)), (String ((Ascii (true, false,
-    true, true, false, true, true, false)), (String ((Ascii (true, false,
-    true, false, false, true, true, false)),
-    EmptyString)))))))))))))))))))))))))))))))))))))))))))))))))))))))), (S
-    (S (S (S (S (S (S (S (S (S (S (S (S (S (S (S (S (S (S (S (S (S (S (S (S
-    (S (S (S (S (S (S (S (S (S (S
-    O))))))))))))))))))))))))))))))))))))) :: ((SAlpha ((String ((Ascii
-    (false, true, true, false, false, false, true, false)), (String ((Ascii
-    (true, true, true, true, false, true, true, false)), (String ((Ascii
-    (false, true, false, false, true, true, true, false)), (String ((Ascii
-    (true, false, true, false, false, true, true, false)), (String ((Ascii
-    (true, false, false, true, false, true, true, false)), (String ((Ascii
-    (true, true, true, false, false, true, true, false)), (String ((Ascii
-    (false, true, true, true, false, true, true, false)), (String ((Ascii
-    (true, true, false, false, false, false, true, false)), (String ((Ascii
-    (true, true, true, true, false, true, true, false)), (String ((Ascii
-    (false, true, false, false, true, true, true, false)), (String ((Ascii
-    (false, true, false, false, true, true, true, false)), (String ((Ascii
-    (true, false, true, false, false, true, true, false)), (String ((Ascii
-    (true, true, false, false, true, true, true, false)), (String ((Ascii
-    (false, false, false, false, true, true, true, false)), (String ((Ascii
-    (true, true, true, true, false, true, true, false)), (String ((Ascii
-    (false, true, true, true, false, true, true, false)), (String ((Ascii
-    (false, false, true, false, false, true, true, false)), (String ((Ascii
-    (true, false, true, false, false, true, true, false)), (String ((Ascii
-    (false, true, true, true, false, true, true, false)), (String ((Ascii
-    (false, false, true, false, true, true, true, false)), (String ((Ascii
-    (false, true, false, false, false, false, true, false)), (String ((Ascii
-    (true, false, false, false, false, true, true, false)), (String ((Ascii
-    (false, true, true, true, false, true, true, false)), (String ((Ascii
-    (true, true, false, true, false, true, true, false)), (String ((Ascii
-    (true, false, false, true, false, false, true, false)), (String ((Ascii
-    (false, false, true, false, false, false, true, false)), (String ((Ascii
-    (false, true, true, true, false, false, true, false)), (String ((Ascii
-    (true, false, true, false, true, true, true, false)), (String ((Ascii
-    (true, false, true, true, false, true, true, false)), (String ((Ascii
-    (false, true, false, false, false, true, true, false)), (String ((Ascii
-    (true, false, true, false, false, true, true, false)), (String ((Ascii
-    (false, true, false, false, true, true, true, false)), (String ((Ascii
-    (true, false, false, false, true, false, true, false)), (String ((Ascii
-    (true, false, true, false, true, true, true, false)), (String ((Ascii
-    (true, false, false, false, false, true, true, false)), (String ((Ascii
-    (false, false, true, true, false, true, true, false)), (String ((Ascii
-    (true, false, false, true, false, true, true, false)), (String ((Ascii
-    (false, true, true, false, false, true, true, false)), (String ((Ascii
-    (true, false, false, true, false, true, true, false)), (String ((Ascii
-    (true, false, true, false, false, true, true, false)), (String ((Ascii
-    (false, true, false, false, true, true, true, false)),
-    EmptyString)))))))))))))))))))))))))))))))))))))))))))))))))))))))))))))))))))))))))))))))))),
-    (S (S O)))) :: ((SAlpha ((String ((Ascii (false, true, true, false,
-    false, false, true, false)), (String ((Ascii (true, true, true, true,
-    false, true, true, false)), (String ((Ascii (false, true, false, false,
-    true, true, true, false)), (String ((Ascii (true, false, true, false,
-    false, true, true, false)), (String ((Ascii (true, false, false, true,
-    false, true, true, false)), (String ((Ascii (true, true, true, false,
-    false, true, true, false)), (String ((Ascii (false, true, true, true,
-    false, true, true, false)), (String ((Ascii (true, true, false, false,
-    false, false, true, false)), (String ((Ascii (true, true, true, true,
-    false, true, true, false)), (String ((Ascii (false, true, false, false,
-    true, true, true, false)), (String ((Ascii (false, true, false, false,
-    true, true, true, false)), (String ((Ascii (true, false, true, false,
-    false, true, true, false)), (String ((Ascii (true, true, false, false,
-    true, true, true, false)), (String ((Ascii (false, false, false, false,
-    true, true, true, false)), (String ((Ascii (true, true, true, true,
-    false, true, true, false)), (String ((Ascii (false, true, true, true,
-    false, true, true, false)), (String ((Ascii (false, false, true, false,
-    false, true, true, false)), (String ((Ascii (true, false, true, false,
-    false, true, true, false)), (String ((Ascii (false, true, true, true,
-    false, true, true, false)), (String ((Ascii (false, false, true, false,
-    true, true, true, false)), (String ((Ascii (false, true, false, false,
-    false, false, true, false)), (String ((Ascii (true, false, false, false,
-    false, true, true, false)), (String ((Ascii (false, true, true, true,
-    false, true, true, false)), (String ((Ascii (true, true, false, true,
-    false, true, true, false)), (String ((Ascii (true, false, false, true,
-    false, false, true, false)), (String ((Ascii (false, false, true, false,
-    false, false, true, false)), (String ((Ascii (false, true, true, true,
-    false, false, true, false)), (String ((Ascii (true, false, true, false,
-    true, true, true, false)), (String ((Ascii (true, false, true, true,
-    false, true, true, false)), (String ((Ascii (false, true, false, false,
-    false, true, true, false)), (String ((Ascii (true, false, true, false,
-    false, true, true, false)), (String ((Ascii (false, true, false, false,
-    true, true, true, false)),
-    EmptyString)))))))))))))))))))))))))))))))))))))))))))))))))))))))))))))))),
-    (S (S (S (S (S (S (S (S (S (S (S (S (S (S (S (S (S (S (S (S (S (S (S (S
-    (S (S (S (S (S (S (S (S (S (S
-    O)))))))))))))))))))))))))))))))))))) :: ((SAlpha ((String ((Ascii
-    (false, true, true, false, false, false, true, false)), (String ((Ascii
-    (true, true, true, true, false, true, true, false)), (String ((Ascii
-    (false, true, false, false, true, true, true, false)), (String ((Ascii
-    (true, false, true, false, false, true, true, false)), (String ((Ascii
-    (true, false, false, true, false, true, true, false)), (String ((Ascii
-    (true, true, true, false, false, true, true, false)), (String ((Ascii
-    (false, true, true, true, false, true, true, false)), (String ((Ascii
-    (true, true, false, false, false, false, true, false)), (String ((Ascii
-    (true, true, true, true, false, true, true, false)), (String ((Ascii
-    (false, true, false, false, true, true, true, false)), (String ((Ascii
-    (false, true, false, false, true, true, true, false)), (String ((Ascii
-    (true, false, true, false, false, true, true, false)), (String ((Ascii
-    (true, true, false, false, true, true, true, false)), (String ((Ascii
-    (false, false, false, false, true, true, true, false)), (String ((Ascii
-    (true, true, true, true, false, true, true, false)), (String ((Ascii
-    (false, true, true, true, false, true, true, false)), (String ((Ascii
-    (false, false, true, false, false, true, true, false)), (String ((Ascii
-    (true, false, true, false, false, true, true, false)), (String ((Ascii
-    (false, true, true, true, false, true, true, false)), (String ((Ascii
-    (false, false, true, false, true, true, true, false)), (String ((Ascii
-    (false, true, false, false, false, false, true, false)), (String ((Ascii
-    (true, false, false, false, false, true, true, false)), (String ((Ascii
-    (false, true, true, true, false, true, true, false)), (String ((Ascii
-    (true, true, false, true, false, true, true, false)), (String ((Ascii
-    (false, true, false, false, false, false, true, false)), (String ((Ascii
-    (false, true, false, false, true, true, true, false)), (String ((Ascii
-    (true, false, false, false, false, true, true, false)), (String ((Ascii
-    (false, true, true, true, false, true, true, false)), (String ((Ascii
-    (true, true, false, false, false, true, true, false)), (String ((Ascii
-    (false, false, false, true, false, true, true, false)), (String ((Ascii
-    (true, true, false, false, false, false, true, false)), (String ((Ascii
-    (true, true, true, true, false, true, true, false)), (String ((Ascii
-    (true, false, true, false, true, true, true, false)), (String ((Ascii
-    (false, true, true, true, false, true, true, false)), (String ((Ascii
-    (false, false, true, false, true, true, true, false)), (String ((Ascii
-    (false, true, false, false, true, true, true, false)), (String ((Ascii
-    (true, false, false, true, true, true, true, false)), (String ((Ascii
-    (true, true, false, false, false, false, true, false)), (String ((Ascii
-    (true, true, true, true, false, true, true, false)), (String ((Ascii
-    (false, false, true, false, false, true, true, false)), (String ((Ascii
-    (true, false, true, false, false, true, true, false)),
-    EmptyString)))))))))))))))))))))))))))))))))))))))))))))))))))))))))))))))))))))))))))))))))),
-    (S (S (S O))))) :: ((SLit ((Npos (XO (XO (XO (XO (XO XH)))))) :: ((Npos
-    (XO (XO (XO (XO (XO XH)))))) :: ((Npos (XO (XO (XO (XO (XO
-    XH)))))) :: ((Npos (XO (XO (XO (XO (XO XH)))))) :: ((Npos (XO (XO (XO (XO
-    (XO XH)))))) :: ((Npos (XO (XO (XO (XO (XO
-    XH)))))) :: []))))))) :: ((SNum ((String ((Ascii (true, true, false,
-    false, true, false, true, false)), (String ((Ascii (true, false, true,
-    false, false, true, true, false)), (String ((Ascii (true, false, false,
-    false, true, true, true, false)), (String ((Ascii (true, false, true,
-    false, true, true, true, false)), (String ((Ascii (true, false, true,
-    false, false, true, true, false)), (String ((Ascii (false, true, true,
-    true, false, true, true, false)), (String ((Ascii (true, true, false,
-    false, false, true, true, false)), (String ((Ascii (true, false, true,
-    false, false, true, true, false)), (String ((Ascii (false, true, true,
-    true, false, false, true, false)), (String ((Ascii (true, false, true,
-    false, true, true, true, false)), (String ((Ascii (true, false, true,
-    true, false, true, true, false)), (String ((Ascii (false, true, false,
-    false, false, true, true, false)), (String ((Ascii (true, false, true,
-    false, false, true, true, false)), (String ((Ascii (false, true, false,
-    false, true, true, true, false)),
-    EmptyString)))))))))))))))))))))))))))), (S (S (S (S O)))))) :: ((SNum
-    ((String ((Ascii (true, false, true, false, false, false, true, false)),
-    (String ((Ascii (false, true, true, true, false, true, true, false)),
-    (String ((Ascii (false, false, true, false, true, true, true, false)),
-    (String ((Ascii (false, true, false, false, true, true, true, false)),
-    (String ((Ascii (true, false, false, true, true, true, true, false)),
-    (String ((Ascii (false, false, true, false, false, false, true, false)),
-    (String ((Ascii (true, false, true, false, false, true, true, false)),
-    (String ((Ascii (false, false, true, false, true, true, true, false)),
-    (String ((Ascii (true, false, false, false, false, true, true, false)),
-    (String ((Ascii (true, false, false, true, false, true, true, false)),
-    (String ((Ascii (false, false, true, true, false, true, true, false)),
-    (String ((Ascii (true, true, false, false, true, false, true, false)),
-    (String ((Ascii (true, false, true, false, false, true, true, false)),
-    (String ((Ascii (true, false, false, false, true, true, true, false)),
-    (String ((Ascii (true, false, true, false, true, true, true, false)),
-    (String ((Ascii (true, false, true, false, false, true, true, false)),
-    (String ((Ascii (false, true, true, true, false, true, true, false)),
-    (String ((Ascii (true, true, false, false, false, true, true, false)),
-    (String ((Ascii (true, false, true, false, false, true, true, false)),
-    (String ((Ascii (false, true, true, true, false, false, true, false)),
-    (String ((Ascii (true, false, true, false, true, true, true, false)),
-    (String ((Ascii (true, false, true, true, false, true, true, false)),
-    (String ((Ascii (false, true, false, false, false, true, true, false)),
-    (String ((Ascii (true, false, true, false, false, true, true, false)),
-    (String ((Ascii (false, true, false, false, true, true, true, false)),
-    EmptyString)))))))))))))))))))))))))))))))))))))))))))))))))), (S (S (S
-    (S (S (S (S O))))))))) :: []))))))))); l_cuts =
-    ((mkcut O (S O) EmptyString []) :: ((mkcut (S O) (S (S (S O))) (String
-                                          ((Ascii (false, false, true, false,
-                                          true, false, true, false)), (String
-                                          ((Ascii (true, false, false, true,
-                                          true, true, true, false)), (String
-                                          ((Ascii (false, false, false,
-                                          false, true, true, true, false)),
-                                          (String ((Ascii (true, false, true,
-                                          false, false, true, true, false)),
-                                          (String ((Ascii (true, true, false,
-                                          false, false, false, true, false)),
-                                          (String ((Ascii (true, true, true,
-                                          true, false, true, true, false)),
-                                          (String ((Ascii (false, false,
-                                          true, false, false, true, true,
-                                          false)), (String ((Ascii (true,
-                                          false, true, false, false, true,
-                                          true, false)),
-                                          EmptyString)))))))))))))))) []) :: (
-    (mkcut (S (S (S O))) (S (S (S (S (S (S (S (S (S (S (S (S (S (S (S (S (S
-      (S (S (S (S (S (S (S (S (S (S (S (S (S (S (S (S (S (S (S (S (S
-      O)))))))))))))))))))))))))))))))))))))) (String ((Ascii (false, true,
-      true, false, false, false, true, false)), (String ((Ascii (true, true,
-      true, true, false, true, true, false)), (String ((Ascii (false, true,
-      false, false, true, true, true, false)), (String ((Ascii (true, false,
-      true, false, false, true, true, false)), (String ((Ascii (true, false,
-      false, true, false, true, true, false)), (String ((Ascii (true, true,
-      true, false, false, true, true, false)), (String ((Ascii (false, true,
-      true, true, false, true, true, false)), (String ((Ascii (true, true,
-      false, false, false, false, true, false)), (String ((Ascii (true, true,
-      true, true, false, true, true, false)), (String ((Ascii (false, true,
-      false, false, true, true, true, false)), (String ((Ascii (false, true,
-      false, false, true, true, true, false)), (String ((Ascii (true, false,
-      true, false, false, true, true, false)), (String ((Ascii (true, true,
-      false, false, true, true, true, false)), (String ((Ascii (false, false,
-      false, false, true, true, true, false)), (String ((Ascii (true, true,
-      true, true, false, true, true, false)), (String ((Ascii (false, true,
-      true, true, false, true, true, false)), (String ((Ascii (false, false,
-      true, false, false, true, true, false)), (String ((Ascii (true, false,
-      true, false, false, true, true, false)), (String ((Ascii (false, true,
-      true, true, false, true, true, false)), (String ((Ascii (false, false,
-      true, false, true, true, true, false)), (String ((Ascii (false, true,
-      false, false, false, false, true, false)), (String ((Ascii (true,
-      false, false, false, false, true, true, false)), (String ((Ascii
-      (false, true, true, true, false, true, true, false)), (String ((Ascii
-      (true, true, false, true, false, true, true, false)), (String ((Ascii
-      (false, true, true, true, false, false, true, false)), (String ((Ascii
-      (true, false, false, false, false, true, true, false)), (String ((Ascii
-      (true, false, true, true, false, true, true, false)), (String ((Ascii
-      (true, false, true, false, false, true, true, false)),
-      EmptyString))))))))))))))))))))))))))))))))))))))))))))))))))))))))
-      ((String ((Ascii (true, true, false, false, true, true, true, false)),
-      (String ((Ascii (false, false, true, false, true, true, true, false)),
-      (String ((Ascii (false, true, false, false, true, true, true, false)),
-      (String ((Ascii (true, false, false, true, false, true, true, false)),
-      (String ((Ascii (false, true, true, true, false, true, true, false)),
-      (String ((Ascii (true, true, true, false, false, true, true, false)),
-      (String ((Ascii (true, true, false, false, true, true, true, false)),
-      (String ((Ascii (false, true, true, true, false, true, false, false)),
-      (String ((Ascii (false, false, true, false, true, false, true, false)),
-      (String ((Ascii (false, true, false, false, true, true, true, false)),
-      (String ((Ascii (true, false, false, true, false, true, true, false)),
-      (String ((Ascii (true, false, true, true, false, true, true, false)),
-      (String ((Ascii (true, true, false, false, true, false, true, false)),
-      (String ((Ascii (false, false, false, false, true, true, true, false)),
-      (String ((Ascii (true, false, false, false, false, true, true, false)),
-      (String ((Ascii (true, true, false, false, false, true, true, false)),
-      (String ((Ascii (true, false, true, false, false, true, true, false)),
-      EmptyString)))))))))))))))))))))))))))))))))) :: [])) :: ((mkcut (S (S
-                                                                  (S (S (S (S
-                                                                  (S (S (S (S
-                                                                  (S (S (S (S
-                                                                  (S (S (S (S
-                                                                  (S (S (S (S
-                                                                  (S (S (S (S
-                                                                  (S (S (S (S
-                                                                  (S (S (S (S
-                                                                  (S (S (S (S
-                                                                  O))))))))))))))))))))))))))))))))))))))
-                                                                  (S (S (S (S
-                                                                  (S (S (S (S
-                                                                  (S (S (S (S
-                                                                  (S (S (S (S
-                                                                  (S (S (S (S
-                                                                  (S (S (S (S
-                                                                  (S (S (S (S
-                                                                  (S (S (S (S
-                                                                  (S (S (S (S
-                                                                  (S (S (S (S
-                                                                  O))))))))))))))))))))))))))))))))))))))))
-                                                                  (String
-                                                                  ((Ascii
-                                                                  (false,
-                                                                  true, true,
-                                                                  false,
-                                                                  false,
-                                                                  false,
-                                                                  true,
-                                                                  false)),
-                                                                  (String
-                                                                  ((Ascii
-                                                                  (true,
-                                                                  true, true,
-                                                                  true,
-                                                                  false,
-                                                                  true, true,
-                                                                  false)),
-                                                                  (String
-                                                                  ((Ascii
-                                                                  (false,
-                                                                  true,
-                                                                  false,
-                                                                  false,
-                                                                  true, true,
-                                                                  true,
-                                                                  false)),
-                                                                  (String
-                                                                  ((Ascii
-                                                                  (true,
-                                                                  false,
-                                                                  true,
-                                                                  false,
-                                                                  false,
-                                                                  true, true,
-                                                                  false)),
-                                                                  (String
-                                                                  ((Ascii
-                                                                  (true,
-                                                                  false,
-                                                                  false,
-                                                                  true,
-                                                                  false,
-                                                                  true, true,
-                                                                  false)),
-                                                                  (String
-                                                                  ((Ascii
-                                                                  (true,
-                                                                  true, true,
-                                                                  false,
-                                                                  false,
-                                                                  true, true,
-                                                                  false)),
-                                                                  (String
-                                                                  ((Ascii
-                                                                  (false,
-                                                                  true, true,
-                                                                  true,
-                                                                  false,
-                                                                  true, true,
-                                                                  false)),
-                                                                  (String
-                                                                  ((Ascii
-                                                                  (true,
-                                                                  true,
-                                                                  false,
-                                                                  false,
-                                                                  false,
-                                                                  false,
-                                                                  true,
-                                                                  false)),
-                                                                  (String
-                                                                  ((Ascii
-                                                                  (true,
-                                                                  true, true,
-                                                                  true,
-                                                                  false,
-                                                                  true, true,
-                                                                  false)),
-                                                                  (String
-                                                                  ((Ascii
-                                                                  (false,
-                                                                  true,
-                                                                  false,
-                                                                  false,
-                                                                  true, true,
-                                                                  true,
-                                                                  false)),
-                                                                  (String
-                                                                  ((Ascii
-                                                                  (false,
-                                                                  true,
-                                                                  false,
-                                                                  false,
-                                                                  true, true,
-                                                                  true,
-                                                                  false)),
-                                                                  (String
-                                                                  ((Ascii
-                                                                  (true,
-                                                                  false,
-                                                                  true,
-                                                                  false,
-                                                                  false,
-                                                                  true, true,
-                                                                  false)),
-                                                                  (String
-                                                                  ((Ascii
-                                                                  (true,
-                                                                  true,
-                                                                  false,
-                                                                  false,
-                                                                  true, true,
-                                                                  true,
-                                                                  false)),
-                                                                  (String
-                                                                  ((Ascii
-                                                                  (false,
-                                                                  false,
-                                                                  false,
-                                                                  false,
-                                                                  true, true,
-                                                                  true,
-                                                                  false)),
-                                                                  (String
-                                                                  ((Ascii
-                                                                  (true,
-                                                                  true, true,
-                                                                  true,
-                                                                  false,
-                                                                  true, true,
-                                                                  false)),
-                                                                  (String
-                                                                  ((Ascii
-                                                                  (false,
-                                                                  true, true,
-                                                                  true,
-                                                                  false,
-                                                                  true, true,
-                                                                  false)),
-                                                                  (String
-                                                                  ((Ascii
-                                                                  (false,
-                                                                  false,
-                                                                  true,
-                                                                  false,
-                                                                  false,
-                                                                  true, true,
-                                                                  false)),
-                                                                  (String
-                                                                  ((Ascii
-                                                                  (true,
-                                                                  false,
-                                                                  true,
-                                                                  false,
-                                                                  false,
-                                                                  true, true,
-                                                                  false)),
-                                                                  (String
-                                                                  ((Ascii
-                                                                  (false,
-                                                                  true, true,
-                                                                  true,
-                                                                  false,
-                                                                  true, true,
-                                                                  false)),
-                                                                  (String
-                                                                  ((Ascii
-                                                                  (false,
-                                                                  false,
-                                                                  true,
-                                                                  false,
-                                                                  true, true,
-                                                                  true,
-                                                                  false)),
-                                                                  (String
-                                                                  ((Ascii
-                                                                  (false,
-                                                                  true,
-                                                                  false,
-                                                                  false,
-                                                                  false,
-                                                                  false,
-                                                                  true,
-                                                                  false)),
-                                                                  (String
-                                                                  ((Ascii
-                                                                  (true,
-                                                                  false,
-                                                                  false,
-                                                                  false,
-                                                                  false,
-                                                                  true, true,
-                                                                  false)),
-                                                                  (String
-                                                                  ((Ascii
-                                                                  (false,
-                                                                  true, true,
-                                                                  true,
-                                                                  false,
-                                                                  true, true,
-                                                                  false)),
-                                                                  (String
-                                                                  ((Ascii
-                                                                  (true,
-                                                                  true,
-                                                                  false,
-                                                                  true,
-                                                                  false,
-                                                                  true, true,
-                                                                  false)),
-                                                                  (String
-                                                                  ((Ascii
-                                                                  (true,
-                                                                  false,
-                                                                  false,
-                                                                  true,
-                                                                  false,
-                                                                  false,
-                                                                  true,
-                                                                  false)),
-                                                                  (String
-                                                                  ((Ascii
-                                                                  (false,
-                                                                  false,
-                                                                  true,
-                                                                  false,
-                                                                  false,
-                                                                  false,
-                                                                  true,
-                                                                  false)),
-                                                                  (String
-                                                                  ((Ascii
-                                                                  (false,
-                                                                  true, true,
-                                                                  true,
-                                                                  false,
-                                                                  false,
-                                                                  true,
-                                                                  false)),
-                                                                  (String
-                                                                  ((Ascii
-                                                                  (true,
-                                                                  false,
-                                                                  true,
-                                                                  false,
-                                                                  true, true,
-                                                                  true,
-                                                                  false)),
-                                                                  (String
-                                                                  ((Ascii
-                                                                  (true,
-                                                                  false,
-                                                                  true, true,
-                                                                  false,
-                                                                  true, true,
-                                                                  false)),
-                                                                  (String
-                                                                  ((Ascii
-                                                                  (false,
-                                                                  true,
-                                                                  false,
-                                                                  false,
-                                                                  false,
-                                                                  true, true,
-                                                                  false)),
-                                                                  (String
-                                                                  ((Ascii
-                                                                  (true,
-                                                                  false,
-                                                                  true,
-                                                                  false,
-                                                                  false,
-                                                                  true, true,
-                                                                  false)),
-                                                                  (String
-                                                                  ((Ascii
-                                                                  (false,
-                                                                  true,
-                                                                  false,
-                                                                  false,
-                                                                  true, true,
-                                                                  true,
-                                                                  false)),
-                                                                  (String
-                                                                  ((Ascii
-                                                                  (true,
-                                                                  false,
-                                                                  false,
-                                                                  false,
-                                                                  true,
-                                                                  false,
-                                                                  true,
-                                                                  false)),
-                                                                  (String
-                                                                  ((Ascii
-                                                                  (true,
-                                                                  false,
-                                                                  true,
-                                                                  false,
-                                                                  true, true,
-                                                                  true,
-                                                                  false)),
-                                                                  (String
-                                                                  ((Ascii
-                                                                  (true,
-                                                                  false,
-                                                                  false,
-                                                                  false,
-                                                                  false,
-                                                                  true, true,
-                                                                  false)),
-                                                                  (String
-                                                                  ((Ascii
-                                                                  (false,
-                                                                  false,
-                                                                  true, true,
-                                                                  false,
-                                                                  true, true,
-                                                                  false)),
-                                                                  (String
-                                                                  ((Ascii
-                                                                  (true,
-                                                                  false,
-                                                                  false,
-                                                                  true,
-                                                                  false,
-                                                                  true, true,
-                                                                  false)),
-                                                                  (String
-                                                                  ((Ascii
-                                                                  (false,
-                                                                  true, true,
-                                                                  false,
-                                                                  false,
-                                                                  true, true,
-                                                                  false)),
-                                                                  (String
-                                                                  ((Ascii
-                                                                  (true,
-                                                                  false,
-                                                                  false,
-                                                                  true,
-                                                                  false,
-                                                                  true, true,
-                                                                  false)),
-                                                                  (String
-                                                                  ((Ascii
-                                                                  (true,
-                                                                  false,
-                                                                  true,
-                                                                  false,
-                                                                  false,
-                                                                  true, true,
-                                                                  false)),
-                                                                  (String
-                                                                  ((Ascii
-                                                                  (false,
-                                                                  true,
-                                                                  false,
-                                                                  false,
-                                                                  true, true,
-                                                                  true,
-                                                                  false)),
-                                                                  EmptyString))))))))))))))))))))))))))))))))))))))))))))))))))))))))))))))))))))))))))))))))))
-                                                                  []) :: (
-    (mkcut (S (S (S (S (S (S (S (S (S (S (S (S (S (S (S (S (S (S (S (S (S (S
-      (S (S (S (S (S (S (S (S (S (S (S (S (S (S (S (S (S (S
-      O)))))))))))))))))))))))))))))))))))))))) (S (S (S (S (S (S (S (S (S (S
-      (S (S (S (S (S (S (S (S (S (S (S (S (S (S (S (S (S (S (S (S (S (S (S (S
-      (S (S (S (S (S (S (S (S (S (S (S (S (S (S (S (S (S (S (S (S (S (S (S (S
-      (S (S (S (S (S (S (S (S (S (S (S (S (S (S (S (S
-      O))))))))))))))))))))))))))))))))))))))))))))))))))))))))))))))))))))))))))
-      (String ((Ascii (false, true, true, false, false, false, true, false)),
-      (String ((Ascii (true, true, true, true, false, true, true, false)),
-      (String ((Ascii (false, true, false, false, true, true, true, false)),
-      (String ((Ascii (true, false, true, false, false, true, true, false)),
-      (String ((Ascii (true, false, false, true, false, true, true, false)),
-      (String ((Ascii (true, true, true, false, false, true, true, false)),
-      (String ((Ascii (false, true, true, true, false, true, true, false)),
-      (String ((Ascii (true, true, false, false, false, false, true, false)),
-      (String ((Ascii (true, true, true, true, false, true, true, false)),
-      (String ((Ascii (false, true, false, false, true, true, true, false)),
-      (String ((Ascii (false, true, false, false, true, true, true, false)),
-      (String ((Ascii (true, false, true, false, false, true, true, false)),
-      (String ((Ascii (true, true, false, false, true, true, true, false)),
-      (String ((Ascii (false, false, false, false, true, true, true, false)),
-      (String ((Ascii (true, true, true, true, false, true, true, false)),
-      (String ((Ascii (false, true, true, true, false, true, true, false)),
-      (String ((Ascii (false, false, true, false, false, true, true, false)),
-      (String ((Ascii (true, false, true, false, false, true, true, false)),
-      (String ((Ascii (false, true, true, true, false, true, true, false)),
-      (String ((Ascii (false, false, true, false, true, true, true, false)),
-      (String ((Ascii (false, true, false, false, false, false, true,
-      false)), (String ((Ascii (true, false, false, false, false, true, true,
-      false)), (String ((Ascii (false, true, true, true, false, true, true,
-      false)), (String ((Ascii (true, true, false, true, false, true, true,
-      false)), (String ((Ascii (true, false, false, true, false, false, true,
-      false)), (String ((Ascii (false, false, true, false, false, false,
-      true, false)), (String ((Ascii (false, true, true, true, false, false,
-      true, false)), (String ((Ascii (true, false, true, false, true, true,
-      true, false)), (String ((Ascii (true, false, true, true, false, true,
-      true, false)), (String ((Ascii (false, true, false, false, false, true,
-      true, false)), (String ((Ascii (true, false, true, false, false, true,
-      true, false)), (String ((Ascii (false, true, false, false, true, true,
-      true, false)),
-      EmptyString))))))))))))))))))))))))))))))))))))))))))))))))))))))))))))))))
-      ((String ((Ascii (true, true, false, false, true, true, true, false)),
-      (String ((Ascii (false, false, true, false, true, true, true, false)),
-      (String ((Ascii (false, true, false, false, true, true, true, false)),
-      (String ((Ascii (true, false, false, true, false, true, true, false)),
-      (String ((Ascii (false, true, true, true, false, true, true, false)),
-      (String ((Ascii (true, true, true, false, false, true, true, false)),
-      (String ((Ascii (true, true, false, false, true, true, true, false)),
-      (String ((Ascii (false, true, true, true, false, true, false, false)),
-      (String ((Ascii (false, false, true, false, true, false, true, false)),
-      (String ((Ascii (false, true, false, false, true, true, true, false)),
-      (String ((Ascii (true, false, false, true, false, true, true, false)),
-      (String ((Ascii (true, false, true, true, false, true, true, false)),
-      (String ((Ascii (true, true, false, false, true, false, true, false)),
-      (String ((Ascii (false, false, false, false, true, true, true, false)),
-      (String ((Ascii (true, false, false, false, false, true, true, false)),
-      (String ((Ascii (true, true, false, false, false, true, true, false)),
-      (String ((Ascii (true, false, true, false, false, true, true, false)),
-      EmptyString)))))))))))))))))))))))))))))))))) :: [])) :: ((mkcut (S (S
-                                                                  (S (S (S (S
-                                                                  (S (S (S (S
-                                                                  (S (S (S (S
-                                                                  (S (S (S (S
-                                                                  (S (S (S (S
-                                                                  (S (S (S (S
-                                                                  (S (S (S (S
-                                                                  (S (S (S (S
-                                                                  (S (S (S (S
-                                                                  (S (S (S (S
-                                                                  (S (S (S (S
-                                                                  (S (S (S (S
-                                                                  (S (S (S (S
-                                                                  (S (S (S (S
-                                                                  (S (S (S (S
-                                                                  (S (S (S (S
-                                                                  (S (S (S (S
-                                                                  (S (S (S (S
-                                                                  O))))))))))))))))))))))))))))))))))))))))))))))))))))))))))))))))))))))))))
-                                                                  (S (S (S (S
-                                                                  (S (S (S (S
-                                                                  (S (S (S (S
-                                                                  (S (S (S (S
-                                                                  (S (S (S (S
-                                                                  (S (S (S (S
-                                                                  (S (S (S (S
-                                                                  (S (S (S (S
-                                                                  (S (S (S (S
-                                                                  (S (S (S (S
-                                                                  (S (S (S (S
-                                                                  (S (S (S (S
-                                                                  (S (S (S (S
-                                                                  (S (S (S (S
-                                                                  (S (S (S (S
-                                                                  (S (S (S (S
-                                                                  (S (S (S (S
-                                                                  (S (S (S (S
-                                                                  (S (S (S (S
-                                                                  (S
-                                                                  O)))))))))))))))))))))))))))))))))))))))))))))))))))))))))))))))))))))))))))))
-                                                                  (String
-                                                                  ((Ascii
-                                                                  (false,
-                                                                  true, true,
-                                                                  false,
-                                                                  false,
-                                                                  false,
-                                                                  true,
-                                                                  false)),
-                                                                  (String
-                                                                  ((Ascii
-                                                                  (true,
-                                                                  true, true,
-                                                                  true,
-                                                                  false,
-                                                                  true, true,
-                                                                  false)),
-                                                                  (String
-                                                                  ((Ascii
-                                                                  (false,
-                                                                  true,
-                                                                  false,
-                                                                  false,
-                                                                  true, true,
-                                                                  true,
-                                                                  false)),
-                                                                  (String
-                                                                  ((Ascii
-                                                                  (true,
-                                                                  false,
-                                                                  true,
-                                                                  false,
-                                                                  false,
-                                                                  true, true,
-                                                                  false)),
-                                                                  (String
-                                                                  ((Ascii
-                                                                  (true,
-                                                                  false,
-                                                                  false,
-                                                                  true,
-                                                                  false,
-                                                                  true, true,
-                                                                  false)),
-                                                                  (String
-                                                                  ((Ascii
-                                                                  (true,
-                                                                  true, true,
-                                                                  false,
-                                                                  false,
-                                                                  true, true,
-                                                                  false)),
-                                                                  (String
-                                                                  ((Ascii
-                                                                  (false,
-                                                                  true, true,
-                                                                  true,
-                                                                  false,
-                                                                  true, true,
-                                                                  false)),
-                                                                  (String
-                                                                  ((Ascii
-                                                                  (true,
-                                                                  true,
-                                                                  false,
-                                                                  false,
-                                                                  false,
-                                                                  false,
-                                                                  true,
-                                                                  false)),
-                                                                  (String
-                                                                  ((Ascii
-                                                                  (true,
-                                                                  true, true,
-                                                                  true,
-                                                                  false,
-                                                                  true, true,
-                                                                  false)),
-                                                                  (String
-                                                                  ((Ascii
-                                                                  (false,
-                                                                  true,
-                                                                  false,
-                                                                  false,
-                                                                  true, true,
-                                                                  true,
-                                                                  false)),
-                                                                  (String
-                                                                  ((Ascii
-                                                                  (false,
-                                                                  true,
-                                                                  false,
-                                                                  false,
-                                                                  true, true,
-                                                                  true,
-                                                                  false)),
-                                                                  (String
-                                                                  ((Ascii
-                                                                  (true,
-                                                                  false,
-                                                                  true,
-                                                                  false,
-                                                                  false,
-                                                                  true, true,
-                                                                  false)),
-                                                                  (String
-                                                                  ((Ascii
-                                                                  (true,
-                                                                  true,
-                                                                  false,
-                                                                  false,
-                                                                  true, true,
-                                                                  true,
-                                                                  false)),
-                                                                  (String
-                                                                  ((Ascii
-                                                                  (false,
-                                                                  false,
-                                                                  false,
-                                                                  false,
-                                                                  true, true,
-                                                                  true,
-                                                                  false)),
-                                                                  (String
-                                                                  ((Ascii
-                                                                  (true,
-                                                                  true, true,
-                                                                  true,
-                                                                  false,
-                                                                  true, true,
-                                                                  false)),
-                                                                  (String
-                                                                  ((Ascii
-                                                                  (false,
-                                                                  true, true,
-                                                                  true,
-                                                                  false,
-                                                                  true, true,
-                                                                  false)),
-                                                                  (String
-                                                                  ((Ascii
-                                                                  (false,
-                                                                  false,
-                                                                  true,
-                                                                  false,
-                                                                  false,
-                                                                  true, true,
-                                                                  false)),
-                                                                  (String
-                                                                  ((Ascii
-                                                                  (true,
-                                                                  false,
-                                                                  true,
-                                                                  false,
-                                                                  false,
-                                                                  true, true,
-                                                                  false)),
-                                                                  (String
-                                                                  ((Ascii
-                                                                  (false,
-                                                                  true, true,
-                                                                  true,
-                                                                  false,
-                                                                  true, true,
-                                                                  false)),
-                                                                  (String
-                                                                  ((Ascii
-                                                                  (false,
-                                                                  false,
-                                                                  true,
-                                                                  false,
-                                                                  true, true,
-                                                                  true,
-                                                                  false)),
-                                                                  (String
-                                                                  ((Ascii
-                                                                  (false,
-                                                                  true,
-                                                                  false,
-                                                                  false,
-                                                                  false,
-                                                                  false,
-                                                                  true,
-                                                                  false)),
-                                                                  (String
-                                                                  ((Ascii
-                                                                  (true,
-                                                                  false,
-                                                                  false,
-                                                                  false,
-                                                                  false,
-                                                                  true, true,
-                                                                  false)),
-                                                                  (String
-                                                                  ((Ascii
-                                                                  (false,
-                                                                  true, true,
-                                                                  true,
-                                                                  false,
-                                                                  true, true,
-                                                                  false)),
-                                                                  (String
-                                                                  ((Ascii
-                                                                  (true,
-                                                                  true,
-                                                                  false,
-                                                                  true,
-                                                                  false,
-                                                                  true, true,
-                                                                  false)),
-                                                                  (String
-                                                                  ((Ascii
-                                                                  (false,
-                                                                  true,
-                                                                  false,
-                                                                  false,
-                                                                  false,
-                                                                  false,
-                                                                  true,
-                                                                  false)),
-                                                                  (String
-                                                                  ((Ascii
-                                                                  (false,
-                                                                  true,
-                                                                  false,
-                                                                  false,
-                                                                  true, true,
-                                                                  true,
-                                                                  false)),
-                                                                  (String
-                                                                  ((Ascii
-                                                                  (true,
-                                                                  false,
-                                                                  false,
-                                                                  false,
-                                                                  false,
-                                                                  true, true,
-                                                                  false)),
-                                                                  (String
-                                                                  ((Ascii
-                                                                  (false,
-                                                                  true, true,
-                                                                  true,
-                                                                  false,
-                                                                  true, true,
-                                                                  false)),
-                                                                  (String
-                                                                  ((Ascii
-                                                                  (true,
-                                                                  true,
-                                                                  false,
-                                                                  false,
-                                                                  false,
-                                                                  true, true,
-                                                                  false)),
-                                                                  (String
-                                                                  ((Ascii
-                                                                  (false,
-                                                                  false,
-                                                                  false,
-                                                                  true,
-                                                                  false,
-                                                                  true, true,
-                                                                  false)),
-                                                                  (String
-                                                                  ((Ascii
-                                                                  (true,
-                                                                  true,
-                                                                  false,
-                                                                  false,
-                                                                  false,
-                                                                  false,
-                                                                  true,
-                                                                  false)),
-                                                                  (String
-                                                                  ((Ascii
-                                                                  (true,
-                                                                  true, true,
-                                                                  true,
-                                                                  false,
-                                                                  true, true,
-                                                                  false)),
-                                                                  (String
-                                                                  ((Ascii
-                                                                  (true,
-                                                                  false,
-                                                                  true,
-                                                                  false,
-                                                                  true, true,
-                                                                  true,
-                                                                  false)),
-                                                                  (String
-                                                                  ((Ascii
-                                                                  (false,
-                                                                  true, true,
-                                                                  true,
-                                                                  false,
-                                                                  true, true,
-                                                                  false)),
-                                                                  (String
-                                                                  ((Ascii
-                                                                  (false,
-                                                                  false,
-                                                                  true,
-                                                                  false,
-                                                                  true, true,
-                                                                  true,
-                                                                  false)),
-                                                                  (String
-                                                                  ((Ascii
-                                                                  (false,
-                                                                  true,
-                                                                  false,
-                                                                  false,
-                                                                  true, true,
-                                                                  true,
-                                                                  false)),
-                                                                  (String
-                                                                  ((Ascii
-                                                                  (true,
-                                                                  false,
-                                                                  false,
-                                                                  true, true,
-                                                                  true, true,
-                                                                  false)),
-                                                                  (String
-                                                                  ((Ascii
-                                                                  (true,
-                                                                  true,
-                                                                  false,
-                                                                  false,
-                                                                  false,
-                                                                  false,
-                                                                  true,
-                                                                  false)),
-                                                                  (String
-                                                                  ((Ascii
-                                                                  (true,
-                                                                  true, true,
-                                                                  true,
-                                                                  false,
-                                                                  true, true,
-                                                                  false)),
-                                                                  (String
-                                                                  ((Ascii
-                                                                  (false,
-                                                                  false,
-                                                                  true,
-                                                                  false,
-                                                                  false,
-                                                                  true, true,
-                                                                  false)),
-                                                                  (String
-                                                                  ((Ascii
-                                                                  (true,
-                                                                  false,
-                                                                  true,
-                                                                  false,
-                                                                  false,
-                                                                  true, true,
-                                                                  false)),
-                                                                  EmptyString))))))))))))))))))))))))))))))))))))))))))))))))))))))))))))))))))))))))))))))))))
-                                                                  ((String
-                                                                  ((Ascii
-                                                                  (true,
-                                                                  true,
-                                                                  false,
-                                                                  false,
-                                                                  true, true,
-                                                                  true,
-                                                                  false)),
-                                                                  (String
-                                                                  ((Ascii
-                                                                  (false,
-                                                                  false,
-                                                                  true,
-                                                                  false,
-                                                                  true, true,
-                                                                  true,
-                                                                  false)),
-                                                                  (String
-                                                                  ((Ascii
-                                                                  (false,
-                                                                  true,
-                                                                  false,
-                                                                  false,
-                                                                  true, true,
-                                                                  true,
-                                                                  false)),
-                                                                  (String
-                                                                  ((Ascii
-                                                                  (true,
-                                                                  false,
-                                                                  false,
-                                                                  true,
-                                                                  false,
-                                                                  true, true,
-                                                                  false)),
-                                                                  (String
-                                                                  ((Ascii
-                                                                  (false,
-                                                                  true, true,
-                                                                  true,
-                                                                  false,
-                                                                  true, true,
-                                                                  false)),
-                                                                  (String
-                                                                  ((Ascii
-                                                                  (true,
-                                                                  true, true,
-                                                                  false,
-                                                                  false,
-                                                                  true, true,
-                                                                  false)),
-                                                                  (String
-                                                                  ((Ascii
-                                                                  (true,
-                                                                  true,
-                                                                  false,
-                                                                  false,
-                                                                  true, true,
-                                                                  true,
-                                                                  false)),
-                                                                  (String
-                                                                  ((Ascii
-                                                                  (false,
-                                                                  true, true,
-                                                                  true,
-                                                                  false,
-                                                                  true,
-                                                                  false,
-                                                                  false)),
-                                                                  (String
-                                                                  ((Ascii
-                                                                  (false,
-                                                                  false,
-                                                                  true,
-                                                                  false,
-                                                                  true,
-                                                                  false,
-                                                                  true,
-                                                                  false)),
-                                                                  (String
-                                                                  ((Ascii
-                                                                  (false,
-                                                                  true,
-                                                                  false,
-                                                                  false,
-                                                                  true, true,
-                                                                  true,
-                                                                  false)),
-                                                                  (String
-                                                                  ((Ascii
-                                                                  (true,
-                                                                  false,
-                                                                  false,
-                                                                  true,
-                                                                  false,
-                                                                  true, true,
-                                                                  false)),
-                                                                  (String
-                                                                  ((Ascii
-                                                                  (true,
-                                                                  false,
-                                                                  true, true,
-                                                                  false,
-                                                                  true, true,
-                                                                  false)),
-                                                                  (String
-                                                                  ((Ascii
-                                                                  (true,
-                                                                  true,
-                                                                  false,
-                                                                  false,
-                                                                  true,
-                                                                  false,
-                                                                  true,
-                                                                  false)),
-                                                                  (String
-                                                                  ((Ascii
-                                                                  (false,
-                                                                  false,
-                                                                  false,
-                                                                  false,
-                                                                  true, true,
-                                                                  true,
-                                                                  false)),
-                                                                  (String
-                                                                  ((Ascii
-                                                                  (true,
-                                                                  false,
-                                                                  false,
-                                                                  false,
-                                                                  false,
-                                                                  true, true,
-                                                                  false)),
-                                                                  (String
-                                                                  ((Ascii
-                                                                  (true,
-                                                                  true,
-                                                                  false,
-                                                                  false,
-                                                                  false,
-                                                                  true, true,
-                                                                  false)),
-                                                                  (String
-                                                                  ((Ascii
-                                                                  (true,
-                                                                  false,
-                                                                  true,
-                                                                  false,
-                                                                  false,
-                                                                  true, true,
-                                                                  false)),
-                                                                  EmptyString)))))))))))))))))))))))))))))))))) :: [])) :: (
-    (mkcut (S (S (S (S (S (S (S (S (S (S (S (S (S (S (S (S (S (S (S (S (S (S
-      (S (S (S (S (S (S (S (S (S (S (S (S (S (S (S (S (S (S (S (S (S (S (S (S
-      (S (S (S (S (S (S (S (S (S (S (S (S (S (S (S (S (S (S (S (S (S (S (S (S
-      (S (S (S (S (S (S (S
-      O)))))))))))))))))))))))))))))))))))))))))))))))))))))))))))))))))))))))))))))
-      (S (S (S (S (S (S (S (S (S (S (S (S (S (S (S (S (S (S (S (S (S (S (S (S
-      (S (S (S (S (S (S (S (S (S (S (S (S (S (S (S (S (S (S (S (S (S (S (S (S
-      (S (S (S (S (S (S (S (S (S (S (S (S (S (S (S (S (S (S (S (S (S (S (S (S
-      (S (S (S (S (S (S (S (S (S (S (S
-      O)))))))))))))))))))))))))))))))))))))))))))))))))))))))))))))))))))))))))))))))))))
-      EmptyString []) :: ((mkcut (S (S (S (S (S (S (S (S (S (S (S (S (S (S (S
-                            (S (S (S (S (S (S (S (S (S (S (S (S (S (S (S (S
-                            (S (S (S (S (S (S (S (S (S (S (S (S (S (S (S (S
-                            (S (S (S (S (S (S (S (S (S (S (S (S (S (S (S (S
-                            (S (S (S (S (S (S (S (S (S (S (S (S (S (S (S (S
-                            (S (S (S (S
-                            O)))))))))))))))))))))))))))))))))))))))))))))))))))))))))))))))))))))))))))))))))))
-                            (S (S (S (S (S (S (S (S (S (S (S (S (S (S (S (S
-                            (S (S (S (S (S (S (S (S (S (S (S (S (S (S (S (S
-                            (S (S (S (S (S (S (S (S (S (S (S (S (S (S (S (S
-                            (S (S (S (S (S (S (S (S (S (S (S (S (S (S (S (S
-                            (S (S (S (S (S (S (S (S (S (S (S (S (S (S (S (S
-                            (S (S (S (S (S (S (S
-                            O)))))))))))))))))))))))))))))))))))))))))))))))))))))))))))))))))))))))))))))))))))))))
-                            (String ((Ascii (true, true, false, false, true,
-                            false, true, false)), (String ((Ascii (true,
-                            false, true, false, false, true, true, false)),
-                            (String ((Ascii (true, false, false, false, true,
-                            true, true, false)), (String ((Ascii (true,
-                            false, true, false, true, true, true, false)),
-                            (String ((Ascii (true, false, true, false, false,
-                            true, true, false)), (String ((Ascii (false,
-                            true, true, true, false, true, true, false)),
-                            (String ((Ascii (true, true, false, false, false,
-                            true, true, false)), (String ((Ascii (true,
-                            false, true, false, false, true, true, false)),
-                            (String ((Ascii (false, true, true, true, false,
-                            false, true, false)), (String ((Ascii (true,
-                            false, true, false, true, true, true, false)),
-                            (String ((Ascii (true, false, true, true, false,
-                            true, true, false)), (String ((Ascii (false,
-                            true, false, false, false, true, true, false)),
-                            (String ((Ascii (true, false, true, false, false,
-                            true, true, false)), (String ((Ascii (false,
-                            true, false, false, true, true, true, false)),
-                            EmptyString)))))))))))))))))))))))))))) ((String
-                            ((Ascii (false, false, false, false, true, true,
-                            true, false)), (String ((Ascii (true, false,
-                            false, false, false, true, true, false)), (String
-                            ((Ascii (false, true, false, false, true, true,
-                            true, false)), (String ((Ascii (true, true,
-                            false, false, true, true, true, false)), (String
-                            ((Ascii (true, false, true, false, false, true,
-                            true, false)), (String ((Ascii (false, true,
-                            true, true, false, false, true, false)), (String
-                            ((Ascii (true, false, true, false, true, true,
-                            true, false)), (String ((Ascii (true, false,
-                            true, true, false, true, true, false)), (String
-                            ((Ascii (false, true, true, false, false, false,
-                            true, false)), (String ((Ascii (true, false,
-                            false, true, false, true, true, false)), (String
-                            ((Ascii (true, false, true, false, false, true,
-                            true, false)), (String ((Ascii (false, false,
-                            true, true, false, true, true, false)), (String
-                            ((Ascii (false, false, true, false, false, true,
-                            true, false)),
-                            EmptyString)))))))))))))))))))))))))) :: [])) :: (
-    (mkcut (S (S (S (S (S (S (S (S (S (S (S (S (S (S (S (S (S (S (S (S (S (S
-      (S (S (S (S (S (S (S (S (S (S (S (S (S (S (S (S (S (S (S (S (S (S (S (S
-      (S (S (S (S (S (S (S (S (S (S (S (S (S (S (S (S (S (S (S (S (S (S (S (S
-      (S (S (S (S (S (S (S (S (S (S (S (S (S (S (S (S (S
-      O)))))))))))))))))))))))))))))))))))))))))))))))))))))))))))))))))))))))))))))))))))))))
-      (S (S (S (S (S (S (S (S (S (S (S (S (S (S (S (S (S (S (S (S (S (S (S (S
-      (S (S (S (S (S (S (S (S (S (S (S (S (S (S (S (S (S (S (S (S (S (S (S (S
-      (S (S (S (S (S (S (S (S (S (S (S (S (S (S (S (S (S (S (S (S (S (S (S (S
-      (S (S (S (S (S (S (S (S (S (S (S (S (S (S (S (S (S (S (S (S (S (S
-      O))))))))))))))))))))))))))))))))))))))))))))))))))))))))))))))))))))))))))))))))))))))))))))))
-      (String ((Ascii (true, false, true, false, false, false, true, false)),
-      (String ((Ascii (false, true, true, true, false, true, true, false)),
-      (String ((Ascii (false, false, true, false, true, true, true, false)),
-      (String ((Ascii (false, true, false, false, true, true, true, false)),
-      (String ((Ascii (true, false, false, true, true, true, true, false)),
-      (String ((Ascii (false, false, true, false, false, false, true,
-      false)), (String ((Ascii (true, false, true, false, false, true, true,
-      false)), (String ((Ascii (false, false, true, false, true, true, true,
-      false)), (String ((Ascii (true, false, false, false, false, true, true,
-      false)), (String ((Ascii (true, false, false, true, false, true, true,
-      false)), (String ((Ascii (false, false, true, true, false, true, true,
-      false)), (String ((Ascii (true, true, false, false, true, false, true,
-      false)), (String ((Ascii (true, false, true, false, false, true, true,
-      false)), (String ((Ascii (true, false, false, false, true, true, true,
-      false)), (String ((Ascii (true, false, true, false, true, true, true,
-      false)), (String ((Ascii (true, false, true, false, false, true, true,
-      false)), (String ((Ascii (false, true, true, true, false, true, true,
-      false)), (String ((Ascii (true, true, false, false, false, true, true,
-      false)), (String ((Ascii (true, false, true, false, false, true, true,
-      false)), (String ((Ascii (false, true, true, true, false, false, true,
-      false)), (String ((Ascii (true, false, true, false, true, true, true,
-      false)), (String ((Ascii (true, false, true, true, false, true, true,
-      false)), (String ((Ascii (false, true, false, false, false, true, true,
-      false)), (String ((Ascii (true, false, true, false, false, true, true,
-      false)), (String ((Ascii (false, true, false, false, true, true, true,
-      false)), EmptyString))))))))))))))))))))))))))))))))))))))))))))))))))
-      ((String ((Ascii (false, false, false, false, true, true, true,
-      false)), (String ((Ascii (true, false, false, false, false, true, true,
-      false)), (String ((Ascii (false, true, false, false, true, true, true,
-      false)), (String ((Ascii (true, true, false, false, true, true, true,
-      false)), (String ((Ascii (true, false, true, false, false, true, true,
-      false)), (String ((Ascii (false, true, true, true, false, false, true,
-      false)), (String ((Ascii (true, false, true, false, true, true, true,
-      false)), (String ((Ascii (true, false, true, true, false, true, true,
-      false)), (String ((Ascii (false, true, true, false, false, false, true,
-      false)), (String ((Ascii (true, false, false, true, false, true, true,
-      false)), (String ((Ascii (true, false, true, false, false, true, true,
-      false)), (String ((Ascii (false, false, true, true, false, true, true,
-      false)), (String ((Ascii (false, false, true, false, false, true, true,
-      false)), EmptyString)))))))))))))))))))))))))) :: [])) :: []))))))))) }
-
-(** val l_Addenda98 : layout **)
-
-let l_Addenda98 =
-  { l_name = (String ((Ascii (true, false, false, false, false, false, true,
-    false)), (String ((Ascii (false, false, true, false, false, true, true,
-    false)), (String ((Ascii (false, false, true, false, false, true, true,
-    false)), (String ((Ascii (true, false, true, false, false, true, true,
-    false)), (String ((Ascii (false, true, true, true, false, true, true,
-    false)), (String ((Ascii (false, false, true, false, false, true, true,
-    false)), (String ((Ascii (true, false, false, false, false, true, true,
-    false)), (String ((Ascii (true, false, false, true, true, true, false,
-    false)), (String ((Ascii (false, false, false, true, true, true, false,
-    false)), EmptyString)))))))))))))))))); l_ix = IRune; l_segs = ((SLit
-    ((Npos (XI (XI (XI (XO (XI XH)))))) :: [])) :: ((SRaw (String ((Ascii
-    (false, false, true, false, true, false, true, false)), (String ((Ascii
-    (true, false, false, true, true, true, true, false)), (String ((Ascii
-    (false, false, false, false, true, true, true, false)), (String ((Ascii
-    (true, false, true, false, false, true, true, false)), (String ((Ascii
-    (true, true, false, false, false, false, true, false)), (String ((Ascii
-    (true, true, true, true, false, true, true, false)), (String ((Ascii
-    (false, false, true, false, false, true, true, false)), (String ((Ascii
-    (true, false, true, false, false, true, true, false)),
-    EmptyString))))))))))))))))) :: ((SRaw (String ((Ascii (true, true,
-    false, false, false, false, true, false)), (String ((Ascii (false, false,
-    false, true, false, true, true, false)), (String ((Ascii (true, false,
-    false, false, false, true, true, false)), (String ((Ascii (false, true,
-    true, true, false, true, true, false)), (String ((Ascii (true, true,
-    true, false, false, true, true, false)), (String ((Ascii (true, false,
-    true, false, false, true, true, false)), (String ((Ascii (true, true,
-    false, false, false, false, true, false)), (String ((Ascii (true, true,
-    true, true, false, true, true, false)), (String ((Ascii (false, false,
-    true, false, false, true, true, false)), (String ((Ascii (true, false,
-    true, false, false, true, true, false)),
-    EmptyString))))))))))))))))))))) :: ((SStr ((String ((Ascii (true, true,
-    true, true, false, false, true, false)), (String ((Ascii (false, true,
-    false, false, true, true, true, false)), (String ((Ascii (true, false,
-    false, true, false, true, true, false)), (String ((Ascii (true, true,
-    true, false, false, true, true, false)), (String ((Ascii (true, false,
-    false, true, false, true, true, false)), (String ((Ascii (false, true,
-    true, true, false, true, true, false)), (String ((Ascii (true, false,
-    false, false, false, true, true, false)), (String ((Ascii (false, false,
-    true, true, false, true, true, false)), (String ((Ascii (false, false,
-    true, false, true, false, true, false)), (String ((Ascii (false, true,
-    false, false, true, true, true, false)), (String ((Ascii (true, false,
-    false, false, false, true, true, false)), (String ((Ascii (true, true,
-    false, false, false, true, true, false)), (String ((Ascii (true, false,
-    true, false, false, true, true, false)),
-    EmptyString)))))))))))))))))))))))))), (S (S (S (S (S (S (S (S (S (S (S
-    (S (S (S (S O))))))))))))))))) :: ((SLit ((Npos (XO (XO (XO (XO (XO
-    XH)))))) :: ((Npos (XO (XO (XO (XO (XO XH)))))) :: ((Npos (XO (XO (XO (XO
-    (XO XH)))))) :: ((Npos (XO (XO (XO (XO (XO XH)))))) :: ((Npos (XO (XO (XO
-    (XO (XO XH)))))) :: ((Npos (XO (XO (XO (XO (XO
-    XH)))))) :: []))))))) :: ((SStr ((String ((Ascii (true, true, true, true,
-    false, false, true, false)), (String ((Ascii (false, true, false, false,
-    true, true, true, false)), (String ((Ascii (true, false, false, true,
-    false, true, true, false)), (String ((Ascii (true, true, true, false,
-    false, true, true, false)), (String ((Ascii (true, false, false, true,
-    false, true, true, false)), (String ((Ascii (false, true, true, true,
-    false, true, true, false)), (String ((Ascii (true, false, false, false,
-    false, true, true, false)), (String ((Ascii (false, false, true, true,
-    false, true, true, false)), (String ((Ascii (false, false, true, false,
-    false, false, true, false)), (String ((Ascii (false, true, true, false,
-    false, false, true, false)), (String ((Ascii (true, false, false, true,
-    false, false, true, false)), EmptyString)))))))))))))))))))))), (S (S (S
-    (S (S (S (S (S O)))))))))) :: ((SCustom ((String ((Ascii (true, false,
-    false, false, false, false, true, false)), (String ((Ascii (false, false,
-    true, false, false, true, true, false)), (String ((Ascii (false, false,
-    true, false, false, true, true, false)), (String ((Ascii (true, false,
-    true, false, false, true, true, false)), (String ((Ascii (false, true,
-    true, true, false, true, true, false)), (String ((Ascii (false, false,
-    true, false, false, true, true, false)), (String ((Ascii (true, false,
-    false, false, false, true, true, false)), (String ((Ascii (true, false,
-    false, true, true, true, false, false)), (String ((Ascii (false, false,
-    false, true, true, true, false, false)), (String ((Ascii (false, true,
-    true, true, false, true, false, false)), (String ((Ascii (true, true,
-    false, false, false, false, true, false)), (String ((Ascii (true, true,
-    true, true, false, true, true, false)), (String ((Ascii (false, true,
-    false, false, true, true, true, false)), (String ((Ascii (false, true,
-    false, false, true, true, true, false)), (String ((Ascii (true, false,
-    true, false, false, true, true, false)), (String ((Ascii (true, true,
-    false, false, false, true, true, false)), (String ((Ascii (false, false,
-    true, false, true, true, true, false)), (String ((Ascii (true, false,
-    true, false, false, true, true, false)), (String ((Ascii (false, false,
-    true, false, false, true, true, false)), (String ((Ascii (false, false,
-    true, false, false, false, true, false)), (String ((Ascii (true, false,
-    false, false, false, true, true, false)), (String ((Ascii (false, false,
-    true, false, true, true, true, false)), (String ((Ascii (true, false,
-    false, false, false, true, true, false)), (String ((Ascii (false, true,
-    true, false, false, false, true, false)), (String ((Ascii (true, false,
-    false, true, false, true, true, false)), (String ((Ascii (true, false,
-    true, false, false, true, true, false)), (String ((Ascii (false, false,
-    true, true, false, true, true, false)), (String ((Ascii (false, false,
-    true, false, false, true, true, false)),
-    EmptyString)))))))))))))))))))))))))))))))))))))))))))))))))))))))),
-    (String ((Ascii (true, true, true, false, true, true, false, false)),
-    (String ((Ascii (false, true, false, false, false, true, true, false)),
-    (String ((Ascii (false, true, true, false, false, true, true, false)),
-    (String ((Ascii (true, false, false, true, true, true, false, false)),
-    (String ((Ascii (false, true, true, false, false, true, true, false)),
-    (String ((Ascii (true, true, false, false, false, true, true, false)),
-    (String ((Ascii (false, true, false, false, false, true, true, false)),
-    (String ((Ascii (false, true, false, false, true, true, false, false)),
-    (String ((Ascii (false, true, false, false, true, true, false, false)),
-    (String ((Ascii (true, false, true, false, true, true, false, false)),
-    (String ((Ascii (false, true, true, false, true, true, false, false)),
-    (String ((Ascii (false, false, true, false, true, true, false, false)),
-    EmptyString)))))))))))))))))))))))))) :: ((SLit ((Npos (XO (XO (XO (XO
-    (XO XH)))))) :: ((Npos (XO (XO (XO (XO (XO XH)))))) :: ((Npos (XO (XO (XO
-    (XO (XO XH)))))) :: ((Npos (XO (XO (XO (XO (XO XH)))))) :: ((Npos (XO (XO
-    (XO (XO (XO XH)))))) :: ((Npos (XO (XO (XO (XO (XO XH)))))) :: ((Npos (XO
-    (XO (XO (XO (XO XH)))))) :: ((Npos (XO (XO (XO (XO (XO XH)))))) :: ((Npos
-    (XO (XO (XO (XO (XO XH)))))) :: ((Npos (XO (XO (XO (XO (XO
-    XH)))))) :: ((Npos (XO (XO (XO (XO (XO XH)))))) :: ((Npos (XO (XO (XO (XO
-    (XO XH)))))) :: ((Npos (XO (XO (XO (XO (XO XH)))))) :: ((Npos (XO (XO (XO
-    (XO (XO XH)))))) :: ((Npos (XO (XO (XO (XO (XO
-    XH)))))) :: [])))))))))))))))) :: ((SStr ((String ((Ascii (false, false,
-    true, false, true, false, true, false)), (String ((Ascii (false, true,
-    false, false, true, true, true, false)), (String ((Ascii (true, false,
-    false, false, false, true, true, false)), (String ((Ascii (true, true,
-    false, false, false, true, true, false)), (String ((Ascii (true, false,
-    true, false, false, true, true, false)), (String ((Ascii (false, true,
-    true, true, false, false, true, false)), (String ((Ascii (true, false,
-    true, false, true, true, true, false)), (String ((Ascii (true, false,
-    true, true, false, true, true, false)), (String ((Ascii (false, true,
-    false, false, false, true, true, false)), (String ((Ascii (true, false,
-    true, false, false, true, true, false)), (String ((Ascii (false, true,
-    false, false, true, true, true, false)),
-    EmptyString)))))))))))))))))))))), (S (S (S (S (S (S (S (S (S (S (S (S (S
-    (S (S O))))))))))))))))) :: []))))))))); l_cuts =
-    ((mkcut O (S O) EmptyString []) :: ((mkcut (S O) (S (S (S O))) (String
-                                          ((Ascii (false, false, true, false,
-                                          true, false, true, false)), (String
-                                          ((Ascii (true, false, false, true,
-                                          true, true, true, false)), (String
-                                          ((Ascii (false, false, false,
-                                          false, true, true, true, false)),
-                                          (String ((Ascii (true, false, true,
-                                          false, false, true, true, false)),
-                                          (String ((Ascii (true, true, false,
-                                          false, false, false, true, false)),
-                                          (String ((Ascii (true, true, true,
-                                          true, false, true, true, false)),
-                                          (String ((Ascii (false, false,
-                                          true, false, false, true, true,
-                                          false)), (String ((Ascii (true,
-                                          false, true, false, false, true,
-                                          true, false)),
-                                          EmptyString)))))))))))))))) []) :: (
-    (mkcut (S (S (S O))) (S (S (S (S (S (S O)))))) (String ((Ascii (true,
-      true, false, false, false, false, true, false)), (String ((Ascii
-      (false, false, false, true, false, true, true, false)), (String ((Ascii
-      (true, false, false, false, false, true, true, false)), (String ((Ascii
-      (false, true, true, true, false, true, true, false)), (String ((Ascii
-      (true, true, true, false, false, true, true, false)), (String ((Ascii
-      (true, false, true, false, false, true, true, false)), (String ((Ascii
-      (true, true, false, false, false, false, true, false)), (String ((Ascii
-      (true, true, true, true, false, true, true, false)), (String ((Ascii
-      (false, false, true, false, false, true, true, false)), (String ((Ascii
-      (true, false, true, false, false, true, true, false)),
-      EmptyString)))))))))))))))))))) []) :: ((mkcut (S (S (S (S (S (S
-                                                O)))))) (S (S (S (S (S (S (S
-                                                (S (S (S (S (S (S (S (S (S (S
-                                                (S (S (S (S
-                                                O)))))))))))))))))))))
-                                                (String ((Ascii (true, true,
-                                                true, true, false, false,
-                                                true, false)), (String
-                                                ((Ascii (false, true, false,
-                                                false, true, true, true,
-                                                false)), (String ((Ascii
-                                                (true, false, false, true,
-                                                false, true, true, false)),
-                                                (String ((Ascii (true, true,
-                                                true, false, false, true,
-                                                true, false)), (String
-                                                ((Ascii (true, false, false,
-                                                true, false, true, true,
-                                                false)), (String ((Ascii
-                                                (false, true, true, true,
-                                                false, true, true, false)),
-                                                (String ((Ascii (true, false,
-                                                false, false, false, true,
-                                                true, false)), (String
-                                                ((Ascii (false, false, true,
-                                                true, false, true, true,
-                                                false)), (String ((Ascii
-                                                (false, false, true, false,
-                                                true, false, true, false)),
-                                                (String ((Ascii (false, true,
-                                                false, false, true, true,
-                                                true, false)), (String
-                                                ((Ascii (true, false, false,
-                                                false, false, true, true,
-                                                false)), (String ((Ascii
-                                                (true, true, false, false,
-                                                false, true, true, false)),
-                                                (String ((Ascii (true, false,
-                                                true, false, false, true,
-                                                true, false)),
-                                                EmptyString))))))))))))))))))))))))))
-                                                ((String ((Ascii (true, true,
-                                                false, false, true, true,
-                                                true, false)), (String
-                                                ((Ascii (false, false, true,
-                                                false, true, true, true,
-                                                false)), (String ((Ascii
-                                                (false, true, false, false,
-                                                true, true, true, false)),
-                                                (String ((Ascii (true, false,
-                                                false, true, false, true,
-                                                true, false)), (String
-                                                ((Ascii (false, true, true,
-                                                true, false, true, true,
-                                                false)), (String ((Ascii
-                                                (true, true, true, false,
-                                                false, true, true, false)),
-                                                (String ((Ascii (true, true,
-                                                false, false, true, true,
-                                                true, false)), (String
-                                                ((Ascii (false, true, true,
-                                                true, false, true, false,
-                                                false)), (String ((Ascii
-                                                (false, false, true, false,
-                                                true, false, true, false)),
-                                                (String ((Ascii (false, true,
-                                                false, false, true, true,
-                                                true, false)), (String
-                                                ((Ascii (true, false, false,
-                                                true, false, true, true,
-                                                false)), (String ((Ascii
-                                                (true, false, true, true,
-                                                false, true, true, false)),
-                                                (String ((Ascii (true, true,
-                                                false, false, true, false,
-                                                true, false)), (String
-                                                ((Ascii (false, false, false,
-                                                false, true, true, true,
-                                                false)), (String ((Ascii
-                                                (true, false, false, false,
-                                                false, true, true, false)),
-                                                (String ((Ascii (true, true,
-                                                false, false, false, true,
-                                                true, false)), (String
-                                                ((Ascii (true, false, true,
-                                                false, false, true, true,
-                                                false)),
-                                                EmptyString)))))))))))))))))))))))))))))))))) :: [])) :: (
-    (mkcut (S (S (S (S (S (S (S (S (S (S (S (S (S (S (S (S (S (S (S (S (S
-      O))))))))))))))))))))) (S (S (S (S (S (S (S (S (S (S (S (S (S (S (S (S
-      (S (S (S (S (S (S (S (S (S (S (S O)))))))))))))))))))))))))))
-      EmptyString []) :: ((mkcut (S (S (S (S (S (S (S (S (S (S (S (S (S (S (S
-                            (S (S (S (S (S (S (S (S (S (S (S (S
-                            O))))))))))))))))))))))))))) (S (S (S (S (S (S (S
-                            (S (S (S (S (S (S (S (S (S (S (S (S (S (S (S (S
-                            (S (S (S (S (S (S (S (S (S (S (S (S
-                            O))))))))))))))))))))))))))))))))))) (String
-                            ((Ascii (true, true, true, true, false, false,
-                            true, false)), (String ((Ascii (false, true,
-                            false, false, true, true, true, false)), (String
-                            ((Ascii (true, false, false, true, false, true,
-                            true, false)), (String ((Ascii (true, true, true,
-                            false, false, true, true, false)), (String
-                            ((Ascii (true, false, false, true, false, true,
-                            true, false)), (String ((Ascii (false, true,
-                            true, true, false, true, true, false)), (String
-                            ((Ascii (true, false, false, false, false, true,
-                            true, false)), (String ((Ascii (false, false,
-                            true, true, false, true, true, false)), (String
-                            ((Ascii (false, false, true, false, false, false,
-                            true, false)), (String ((Ascii (false, true,
-                            true, false, false, false, true, false)), (String
-                            ((Ascii (true, false, false, true, false, false,
-                            true, false)), EmptyString))))))))))))))))))))))
-                            ((String ((Ascii (false, false, false, false,
-                            true, true, true, false)), (String ((Ascii (true,
-                            false, false, false, false, true, true, false)),
-                            (String ((Ascii (false, true, false, false, true,
-                            true, true, false)), (String ((Ascii (true, true,
-                            false, false, true, true, true, false)), (String
-                            ((Ascii (true, false, true, false, false, true,
-                            true, false)), (String ((Ascii (true, true,
-                            false, false, true, false, true, false)), (String
-                            ((Ascii (false, false, true, false, true, true,
-                            true, false)), (String ((Ascii (false, true,
-                            false, false, true, true, true, false)), (String
-                            ((Ascii (true, false, false, true, false, true,
-                            true, false)), (String ((Ascii (false, true,
-                            true, true, false, true, true, false)), (String
-                            ((Ascii (true, true, true, false, false, true,
-                            true, false)), (String ((Ascii (false, true,
-                            true, false, false, false, true, false)), (String
-                            ((Ascii (true, false, false, true, false, true,
-                            true, false)), (String ((Ascii (true, false,
-                            true, false, false, true, true, false)), (String
-                            ((Ascii (false, false, true, true, false, true,
-                            true, false)), (String ((Ascii (false, false,
-                            true, false, false, true, true, false)),
-                            EmptyString)))))))))))))))))))))))))))))))) :: [])) :: (
-    (mkcut (S (S (S (S (S (S (S (S (S (S (S (S (S (S (S (S (S (S (S (S (S (S
-      (S (S (S (S (S (S (S (S (S (S (S (S (S
-      O))))))))))))))))))))))))))))))))))) (S (S (S (S (S (S (S (S (S (S (S
-      (S (S (S (S (S (S (S (S (S (S (S (S (S (S (S (S (S (S (S (S (S (S (S (S
-      (S (S (S (S (S (S (S (S (S (S (S (S (S (S (S (S (S (S (S (S (S (S (S (S
-      (S (S (S (S (S
-      O))))))))))))))))))))))))))))))))))))))))))))))))))))))))))))))))
-      (String ((Ascii (true, true, false, false, false, false, true, false)),
-      (String ((Ascii (true, true, true, true, false, true, true, false)),
-      (String ((Ascii (false, true, false, false, true, true, true, false)),
-      (String ((Ascii (false, true, false, false, true, true, true, false)),
-      (String ((Ascii (true, false, true, false, false, true, true, false)),
-      (String ((Ascii (true, true, false, false, false, true, true, false)),
-      (String ((Ascii (false, false, true, false, true, true, true, false)),
-      (String ((Ascii (true, false, true, false, false, true, true, false)),
-      (String ((Ascii (false, false, true, false, false, true, true, false)),
-      (String ((Ascii (false, false, true, false, false, false, true,
-      false)), (String ((Ascii (true, false, false, false, false, true, true,
-      false)), (String ((Ascii (false, false, true, false, true, true, true,
-      false)), (String ((Ascii (true, false, false, false, false, true, true,
-      false)), EmptyString)))))))))))))))))))))))))) ((String ((Ascii (true,
-      true, false, false, true, true, true, false)), (String ((Ascii (false,
-      false, true, false, true, true, true, false)), (String ((Ascii (false,
-      true, false, false, true, true, true, false)), (String ((Ascii (true,
-      false, false, true, false, true, true, false)), (String ((Ascii (false,
-      true, true, true, false, true, true, false)), (String ((Ascii (true,
-      true, true, false, false, true, true, false)), (String ((Ascii (true,
-      true, false, false, true, true, true, false)), (String ((Ascii (false,
-      true, true, true, false, true, false, false)), (String ((Ascii (false,
-      false, true, false, true, false, true, false)), (String ((Ascii (false,
-      true, false, false, true, true, true, false)), (String ((Ascii (true,
-      false, false, true, false, true, true, false)), (String ((Ascii (true,
-      false, true, true, false, true, true, false)), (String ((Ascii (true,
-      true, false, false, true, false, true, false)), (String ((Ascii (false,
-      false, false, false, true, true, true, false)), (String ((Ascii (true,
-      false, false, false, false, true, true, false)), (String ((Ascii (true,
-      true, false, false, false, true, true, false)), (String ((Ascii (true,
-      false, true, false, false, true, true, false)),
-      EmptyString)))))))))))))))))))))))))))))))))) :: [])) :: ((mkcut (S (S
-                                                                  (S (S (S (S
-                                                                  (S (S (S (S
-                                                                  (S (S (S (S
-                                                                  (S (S (S (S
-                                                                  (S (S (S (S
-                                                                  (S (S (S (S
-                                                                  (S (S (S (S
-                                                                  (S (S (S (S
-                                                                  (S (S (S (S
-                                                                  (S (S (S (S
-                                                                  (S (S (S (S
-                                                                  (S (S (S (S
-                                                                  (S (S (S (S
-                                                                  (S (S (S (S
-                                                                  (S (S (S (S
-                                                                  (S (S
-                                                                  O))))))))))))))))))))))))))))))))))))))))))))))))))))))))))))))))
-                                                                  (S (S (S (S
-                                                                  (S (S (S (S
-                                                                  (S (S (S (S
-                                                                  (S (S (S (S
-                                                                  (S (S (S (S
-                                                                  (S (S (S (S
-                                                                  (S (S (S (S
-                                                                  (S (S (S (S
-                                                                  (S (S (S (S
-                                                                  (S (S (S (S
-                                                                  (S (S (S (S
-                                                                  (S (S (S (S
-                                                                  (S (S (S (S
-                                                                  (S (S (S (S
-                                                                  (S (S (S (S
-                                                                  (S (S (S (S
-                                                                  (S (S (S (S
-                                                                  (S (S
-                                                                  O))))))))))))))))))))))))))))))))))))))))))))))))))))))))))))))))))))))
-                                                                  (String
-                                                                  ((Ascii
-                                                                  (true,
-                                                                  false,
-                                                                  false,
-                                                                  true,
-                                                                  false,
-                                                                  true, true,
-                                                                  false)),
-                                                                  (String
-                                                                  ((Ascii
-                                                                  (true,
-                                                                  false,
-                                                                  false,
-                                                                  false,
-                                                                  false,
-                                                                  true, true,
-                                                                  false)),
-                                                                  (String
-                                                                  ((Ascii
-                                                                  (false,
-                                                                  false,
-                                                                  true,
-                                                                  false,
-                                                                  true, true,
-                                                                  true,
-                                                                  false)),
-                                                                  (String
-                                                                  ((Ascii
-                                                                  (true,
-                                                                  true,
-                                                                  false,
-                                                                  false,
-                                                                  false,
-                                                                  false,
-                                                                  true,
-                                                                  false)),
-                                                                  (String
-                                                                  ((Ascii
-                                                                  (true,
-                                                                  true, true,
-                                                                  true,
-                                                                  false,
-                                                                  true, true,
-                                                                  false)),
-                                                                  (String
-                                                                  ((Ascii
-                                                                  (false,
-                                                                  true,
-                                                                  false,
-                                                                  false,
-                                                                  true, true,
-                                                                  true,
-                                                                  false)),
-                                                                  (String
-                                                                  ((Ascii
-                                                                  (false,
-                                                                  true,
-                                                                  false,
-                                                                  false,
-                                                                  true, true,
-                                                                  true,
-                                                                  false)),
-                                                                  (String
-                                                                  ((Ascii
-                                                                  (true,
-                                                                  false,
-                                                                  true,
-                                                                  false,
-                                                                  false,
-                                                                  true, true,
-                                                                  false)),
-                                                                  (String
-                                                                  ((Ascii
-                                                                  (true,
-                                                                  true,
-                                                                  false,
-                                                                  false,
-                                                                  false,
-                                                                  true, true,
-                                                                  false)),
-                                                                  (String
-                                                                  ((Ascii
-                                                                  (false,
-                                                                  false,
-                                                                  true,
-                                                                  false,
-                                                                  true, true,
-                                                                  true,
-                                                                  false)),
-                                                                  (String
-                                                                  ((Ascii
-                                                                  (true,
-                                                                  false,
-                                                                  true,
-                                                                  false,
-                                                                  false,
-                                                                  true, true,
-                                                                  false)),
-                                                                  (String
-                                                                  ((Ascii
-                                                                  (false,
-                                                                  false,
-                                                                  true,
-                                                                  false,
-                                                                  false,
-                                                                  true, true,
-                                                                  false)),
-                                                                  (String
-                                                                  ((Ascii
-                                                                  (false,
-                                                                  false,
-                                                                  true,
-                                                                  false,
-                                                                  false,
-                                                                  false,
-                                                                  true,
-                                                                  false)),
-                                                                  (String
-                                                                  ((Ascii
-                                                                  (true,
-                                                                  false,
-                                                                  false,
-                                                                  false,
-                                                                  false,
-                                                                  true, true,
-                                                                  false)),
-                                                                  (String
-                                                                  ((Ascii
-                                                                  (false,
-                                                                  false,
-                                                                  true,
-                                                                  false,
-                                                                  true, true,
-                                                                  true,
-                                                                  false)),
-                                                                  (String
-                                                                  ((Ascii
-                                                                  (true,
-                                                                  false,
-                                                                  false,
-                                                                  false,
-                                                                  false,
-                                                                  true, true,
-                                                                  false)),
-                                                                  EmptyString))))))))))))))))))))))))))))))))
-                                                                  ((String
-                                                                  ((Ascii
-                                                                  (true,
-                                                                  true,
-                                                                  false,
-                                                                  false,
-                                                                  true, true,
-                                                                  true,
-                                                                  false)),
-                                                                  (String
-                                                                  ((Ascii
-                                                                  (false,
-                                                                  false,
-                                                                  true,
-                                                                  false,
-                                                                  true, true,
-                                                                  true,
-                                                                  false)),
-                                                                  (String
-                                                                  ((Ascii
-                                                                  (false,
-                                                                  true,
-                                                                  false,
-                                                                  false,
-                                                                  true, true,
-                                                                  true,
-                                                                  false)),
-                                                                  (String
-                                                                  ((Ascii
-                                                                  (true,
-                                                                  false,
-                                                                  false,
-                                                                  true,
-                                                                  false,
-                                                                  true, true,
-                                                                  false)),
-                                                                  (String
-                                                                  ((Ascii
-                                                                  (false,
-                                                                  true, true,
-                                                                  true,
-                                                                  false,
-                                                                  true, true,
-                                                                  false)),
-                                                                  (String
-                                                                  ((Ascii
-                                                                  (true,
-                                                                  true, true,
-                                                                  false,
-                                                                  false,
-                                                                  true, true,
-                                                                  false)),
-                                                                  (String
-                                                                  ((Ascii
-                                                                  (true,
-                                                                  true,
-                                                                  false,
-                                                                  false,
-                                                                  true, true,
-                                                                  true,
-                                                                  false)),
-                                                                  (String
-                                                                  ((Ascii
-                                                                  (false,
-                                                                  true, true,
-                                                                  true,
-                                                                  false,
-                                                                  true,
-                                                                  false,
-                                                                  false)),
-                                                                  (String
-                                                                  ((Ascii
-                                                                  (false,
-                                                                  false,
-                                                                  true,
-                                                                  false,
-                                                                  true,
-                                                                  false,
-                                                                  true,
-                                                                  false)),
-                                                                  (String
-                                                                  ((Ascii
-                                                                  (false,
-                                                                  true,
-                                                                  false,
-                                                                  false,
-                                                                  true, true,
-                                                                  true,
-                                                                  false)),
-                                                                  (String
-                                                                  ((Ascii
-                                                                  (true,
-                                                                  false,
-                                                                  false,
-                                                                  true,
-                                                                  false,
-                                                                  true, true,
-                                                                  false)),
-                                                                  (String
-                                                                  ((Ascii
-                                                                  (true,
-                                                                  false,
-                                                                  true, true,
-                                                                  false,
-                                                                  true, true,
-                                                                  false)),
-                                                                  (String
-                                                                  ((Ascii
-                                                                  (true,
-                                                                  true,
-                                                                  false,
-                                                                  false,
-                                                                  true,
-                                                                  false,
-                                                                  true,
-                                                                  false)),
-                                                                  (String
-                                                                  ((Ascii
-                                                                  (false,
-                                                                  false,
-                                                                  false,
-                                                                  false,
-                                                                  true, true,
-                                                                  true,
-                                                                  false)),
-                                                                  (String
-                                                                  ((Ascii
-                                                                  (true,
-                                                                  false,
-                                                                  false,
-                                                                  false,
-                                                                  false,
-                                                                  true, true,
-                                                                  false)),
-                                                                  (String
-                                                                  ((Ascii
-                                                                  (true,
-                                                                  true,
-                                                                  false,
-                                                                  false,
-                                                                  false,
-                                                                  true, true,
-                                                                  false)),
-                                                                  (String
-                                                                  ((Ascii
-                                                                  (true,
-                                                                  false,
-                                                                  true,
-                                                                  false,
-                                                                  false,
-                                                                  true, true,
-                                                                  false)),
-                                                                  EmptyString)))))))))))))))))))))))))))))))))) :: [])) :: (
-    (mkcut (S (S (S (S (S (S (S (S (S (S (S (S (S (S (S (S (S (S (S (S (S (S
-      (S (S (S (S (S (S (S (S (S (S (S (S (S (S (S (S (S (S (S (S (S (S (S (S
-      (S (S (S (S (S (S (S (S (S (S (S (S (S (S (S (S (S (S (S (S (S (S (S (S
-      O))))))))))))))))))))))))))))))))))))))))))))))))))))))))))))))))))))))
-      (S (S (S (S (S (S (S (S (S (S (S (S (S (S (S (S (S (S (S (S (S (S (S (S
-      (S (S (S (S (S (S (S (S (S (S (S (S (S (S (S (S (S (S (S (S (S (S (S (S
-      (S (S (S (S (S (S (S (S (S (S (S (S (S (S (S (S (S (S (S (S (S (S (S (S
-      (S (S (S (S (S (S (S
-      O)))))))))))))))))))))))))))))))))))))))))))))))))))))))))))))))))))))))))))))))
-      EmptyString []) :: ((mkcut (S (S (S (S (S (S (S (S (S (S (S (S (S (S (S
-                            (S (S (S (S (S (S (S (S (S (S (S (S (S (S (S (S
-                            (S (S (S (S (S (S (S (S (S (S (S (S (S (S (S (S
-                            (S (S (S (S (S (S (S (S (S (S (S (S (S (S (S (S
-                            (S (S (S (S (S (S (S (S (S (S (S (S (S (S (S (S
-                            O)))))))))))))))))))))))))))))))))))))))))))))))))))))))))))))))))))))))))))))))
-                            (S (S (S (S (S (S (S (S (S (S (S (S (S (S (S (S
-                            (S (S (S (S (S (S (S (S (S (S (S (S (S (S (S (S
-                            (S (S (S (S (S (S (S (S (S (S (S (S (S (S (S (S
-                            (S (S (S (S (S (S (S (S (S (S (S (S (S (S (S (S
-                            (S (S (S (S (S (S (S (S (S (S (S (S (S (S (S (S
-                            (S (S (S (S (S (S (S (S (S (S (S (S (S (S
-                            O))))))))))))))))))))))))))))))))))))))))))))))))))))))))))))))))))))))))))))))))))))))))))))))
-                            (String ((Ascii (false, false, true, false, true,
-                            false, true, false)), (String ((Ascii (false,
-                            true, false, false, true, true, true, false)),
-                            (String ((Ascii (true, false, false, false,
-                            false, true, true, false)), (String ((Ascii
-                            (true, true, false, false, false, true, true,
-                            false)), (String ((Ascii (true, false, true,
-                            false, false, true, true, false)), (String
-                            ((Ascii (false, true, true, true, false, false,
-                            true, false)), (String ((Ascii (true, false,
-                            true, false, true, true, true, false)), (String
-                            ((Ascii (true, false, true, true, false, true,
-                            true, false)), (String ((Ascii (false, true,
-                            false, false, false, true, true, false)), (String
-                            ((Ascii (true, false, true, false, false, true,
-                            true, false)), (String ((Ascii (false, true,
-                            false, false, true, true, true, false)),
-                            EmptyString)))))))))))))))))))))) ((String
-                            ((Ascii (true, true, false, false, true, true,
-                            true, false)), (String ((Ascii (false, false,
-                            true, false, true, true, true, false)), (String
-                            ((Ascii (false, true, false, false, true, true,
-                            true, false)), (String ((Ascii (true, false,
-                            false, true, false, true, true, false)), (String
-                            ((Ascii (false, true, true, true, false, true,
-                            true, false)), (String ((Ascii (true, true, true,
-                            false, false, true, true, false)), (String
-                            ((Ascii (true, true, false, false, true, true,
-                            true, false)), (String ((Ascii (false, true,
-                            true, true, false, true, false, false)), (String
-                            ((Ascii (false, false, true, false, true, false,
-                            true, false)), (String ((Ascii (false, true,
-                            false, false, true, true, true, false)), (String
-                            ((Ascii (true, false, false, true, false, true,
-                            true, false)), (String ((Ascii (true, false,
-                            true, true, false, true, true, false)), (String
-                            ((Ascii (true, true, false, false, true, false,
-                            true, false)), (String ((Ascii (false, false,
-                            false, false, true, true, true, false)), (String
-                            ((Ascii (true, false, false, false, false, true,
-                            true, false)), (String ((Ascii (true, true,
-                            false, false, false, true, true, false)), (String
-                            ((Ascii (true, false, true, false, false, true,
-                            true, false)),
-                            EmptyString)))))))))))))))))))))))))))))))))) :: [])) :: [])))))))))) }
-
-(** val l_Addenda98Refused : layout **)
-
-let l_Addenda98Refused =
-  { l_name = (String ((Ascii (true, false, false, false, false, false, true,
-    false)), (String ((Ascii (false, false, true, false, false, true, true,
-    false)), (String ((Ascii (false, false, true, false, false, true, true,
-    false)), (String ((Ascii (true, false, true, false, false, true, true,
-    false)), (String ((Ascii (false, true, true, true, false, true, true,
-    false)), (String ((Ascii (false, false, true, false, false, true, true,
-    false)), (String ((Ascii (true, false, false, false, false, true, true,
-    false)), (String ((Ascii (true, false, false, true, true, true, false,
-    false)), (String ((Ascii (false, false, false, true, true, true, false,
-    false)), (String ((Ascii (false, true, false, false, true, false, true,
-    false)), (String ((Ascii (true, false, true, false, false, true, true,
-    false)), (String ((Ascii (false, true, true, false, false, true, true,
-    false)), (String ((Ascii (true, false, true, false, true, true, true,
-    false)), (String ((Ascii (true, true, false, false, true, true, true,
-    false)), (String ((Ascii (true, false, true, false, false, true, true,
-    false)), (String ((Ascii (false, false, true, false, false, true, true,
-    false)), EmptyString)))))))))))))))))))))))))))))))); l_ix = IRune;
-    l_segs = ((SLit ((Npos (XI (XI (XI (XO (XI XH)))))) :: [])) :: ((SRaw
-    (String ((Ascii (false, false, true, false, true, false, true, false)),
-    (String ((Ascii (true, false, false, true, true, true, true, false)),
-    (String ((Ascii (false, false, false, false, true, true, true, false)),
-    (String ((Ascii (true, false, true, false, false, true, true, false)),
-    (String ((Ascii (true, true, false, false, false, false, true, false)),
-    (String ((Ascii (true, true, true, true, false, true, true, false)),
-    (String ((Ascii (false, false, true, false, false, true, true, false)),
-    (String ((Ascii (true, false, true, false, false, true, true, false)),
-    EmptyString))))))))))))))))) :: ((SRaw (String ((Ascii (false, true,
-    false, false, true, false, true, false)), (String ((Ascii (true, false,
-    true, false, false, true, true, false)), (String ((Ascii (false, true,
-    true, false, false, true, true, false)), (String ((Ascii (true, false,
-    true, false, true, true, true, false)), (String ((Ascii (true, true,
-    false, false, true, true, true, false)), (String ((Ascii (true, false,
-    true, false, false, true, true, false)), (String ((Ascii (false, false,
-    true, false, false, true, true, false)), (String ((Ascii (true, true,
-    false, false, false, false, true, false)), (String ((Ascii (false, false,
-    false, true, false, true, true, false)), (String ((Ascii (true, false,
-    false, false, false, true, true, false)), (String ((Ascii (false, true,
-    true, true, false, true, true, false)), (String ((Ascii (true, true,
-    true, false, false, true, true, false)), (String ((Ascii (true, false,
-    true, false, false, true, true, false)), (String ((Ascii (true, true,
-    false, false, false, false, true, false)), (String ((Ascii (true, true,
-    true, true, false, true, true, false)), (String ((Ascii (false, false,
-    true, false, false, true, true, false)), (String ((Ascii (true, false,
-    true, false, false, true, true, false)),
-    EmptyString))))))))))))))))))))))))))))))))))) :: ((SStr ((String ((Ascii
-    (true, true, true, true, false, false, true, false)), (String ((Ascii
-    (false, true, false, false, true, true, true, false)), (String ((Ascii
-    (true, false, false, true, false, true, true, false)), (String ((Ascii
-    (true, true, true, false, false, true, true, false)), (String ((Ascii
-    (true, false, false, true, false, true, true, false)), (String ((Ascii
-    (false, true, true, true, false, true, true, false)), (String ((Ascii
-    (true, false, false, false, false, true, true, false)), (String ((Ascii
-    (false, false, true, true, false, true, true, false)), (String ((Ascii
-    (false, false, true, false, true, false, true, false)), (String ((Ascii
-    (false, true, false, false, true, true, true, false)), (String ((Ascii
-    (true, false, false, false, false, true, true, false)), (String ((Ascii
-    (true, true, false, false, false, true, true, false)), (String ((Ascii
-    (true, false, true, false, false, true, true, false)),
-    EmptyString)))))))))))))))))))))))))), (S (S (S (S (S (S (S (S (S (S (S
-    (S (S (S (S O))))))))))))))))) :: ((SLit ((Npos (XO (XO (XO (XO (XO
-    XH)))))) :: ((Npos (XO (XO (XO (XO (XO XH)))))) :: ((Npos (XO (XO (XO (XO
-    (XO XH)))))) :: ((Npos (XO (XO (XO (XO (XO XH)))))) :: ((Npos (XO (XO (XO
-    (XO (XO XH)))))) :: ((Npos (XO (XO (XO (XO (XO
-    XH)))))) :: []))))))) :: ((SStr ((String ((Ascii (true, true, true, true,
-    false, false, true, false)), (String ((Ascii (false, true, false, false,
-    true, true, true, false)), (String ((Ascii (true, false, false, true,
-    false, true, true, false)), (String ((Ascii (true, true, true, false,
-    false, true, true, false)), (String ((Ascii (true, false, false, true,
-    false, true, true, false)), (String ((Ascii (false, true, true, true,
-    false, true, true, false)), (String ((Ascii (true, false, false, false,
-    false, true, true, false)), (String ((Ascii (false, false, true, true,
-    false, true, true, false)), (String ((Ascii (false, false, true, false,
-    false, false, true, false)), (String ((Ascii (false, true, true, false,
-    false, false, true, false)), (String ((Ascii (true, false, false, true,
-    false, false, true, false)), EmptyString)))))))))))))))))))))), (S (S (S
-    (S (S (S (S (S O)))))))))) :: ((SAlpha ((String ((Ascii (true, true,
-    false, false, false, false, true, false)), (String ((Ascii (true, true,
-    true, true, false, true, true, false)), (String ((Ascii (false, true,
-    false, false, true, true, true, false)), (String ((Ascii (false, true,
-    false, false, true, true, true, false)), (String ((Ascii (true, false,
-    true, false, false, true, true, false)), (String ((Ascii (true, true,
-    false, false, false, true, true, false)), (String ((Ascii (false, false,
-    true, false, true, true, true, false)), (String ((Ascii (true, false,
-    true, false, false, true, true, false)), (String ((Ascii (false, false,
-    true, false, false, true, true, false)), (String ((Ascii (false, false,
-    true, false, false, false, true, false)), (String ((Ascii (true, false,
-    false, false, false, true, true, false)), (String ((Ascii (false, false,
-    true, false, true, true, true, false)), (String ((Ascii (true, false,
-    false, false, false, true, true, false)),
-    EmptyString)))))))))))))))))))))))))), (S (S (S (S (S (S (S (S (S (S (S
-    (S (S (S (S (S (S (S (S (S (S (S (S (S (S (S (S (S (S
-    O))))))))))))))))))))))))))))))) :: ((SRaw (String ((Ascii (true, true,
-    false, false, false, false, true, false)), (String ((Ascii (false, false,
-    false, true, false, true, true, false)), (String ((Ascii (true, false,
-    false, false, false, true, true, false)), (String ((Ascii (false, true,
-    true, true, false, true, true, false)), (String ((Ascii (true, true,
-    true, false, false, true, true, false)), (String ((Ascii (true, false,
-    true, false, false, true, true, false)), (String ((Ascii (true, true,
-    false, false, false, false, true, false)), (String ((Ascii (true, true,
-    true, true, false, true, true, false)), (String ((Ascii (false, false,
-    true, false, false, true, true, false)), (String ((Ascii (true, false,
-    true, false, false, true, true, false)),
-    EmptyString))))))))))))))))))))) :: ((SStr ((String ((Ascii (false,
-    false, true, false, true, false, true, false)), (String ((Ascii (false,
-    true, false, false, true, true, true, false)), (String ((Ascii (true,
-    false, false, false, false, true, true, false)), (String ((Ascii (true,
-    true, false, false, false, true, true, false)), (String ((Ascii (true,
-    false, true, false, false, true, true, false)), (String ((Ascii (true,
-    true, false, false, true, false, true, false)), (String ((Ascii (true,
-    false, true, false, false, true, true, false)), (String ((Ascii (true,
-    false, false, false, true, true, true, false)), (String ((Ascii (true,
-    false, true, false, true, true, true, false)), (String ((Ascii (true,
-    false, true, false, false, true, true, false)), (String ((Ascii (false,
-    true, true, true, false, true, true, false)), (String ((Ascii (true,
-    true, false, false, false, true, true, false)), (String ((Ascii (true,
-    false, true, false, false, true, true, false)), (String ((Ascii (false,
-    true, true, true, false, false, true, false)), (String ((Ascii (true,
-    false, true, false, true, true, true, false)), (String ((Ascii (true,
-    false, true, true, false, true, true, false)), (String ((Ascii (false,
-    true, false, false, false, true, true, false)), (String ((Ascii (true,
-    false, true, false, false, true, true, false)), (String ((Ascii (false,
-    true, false, false, true, true, true, false)),
-    EmptyString)))))))))))))))))))))))))))))))))))))), (S (S (S (S (S (S (S
-    O))))))))) :: ((SLit ((Npos (XO (XO (XO (XO (XO XH)))))) :: ((Npos (XO
-    (XO (XO (XO (XO XH)))))) :: ((Npos (XO (XO (XO (XO (XO XH)))))) :: ((Npos
-    (XO (XO (XO (XO (XO XH)))))) :: ((Npos (XO (XO (XO (XO (XO
-    XH)))))) :: [])))))) :: ((SStr ((String ((Ascii (false, false, true,
-    false, true, false, true, false)), (String ((Ascii (false, true, false,
-    false, true, true, true, false)), (String ((Ascii (true, false, false,
-    false, false, true, true, false)), (String ((Ascii (true, true, false,
-    false, false, true, true, false)), (String ((Ascii (true, false, true,
-    false, false, true, true, false)), (String ((Ascii (false, true, true,
-    true, false, false, true, false)), (String ((Ascii (true, false, true,
-    false, true, true, true, false)), (String ((Ascii (true, false, true,
-    true, false, true, true, false)), (String ((Ascii (false, true, false,
-    false, false, true, true, false)), (String ((Ascii (true, false, true,
-    false, false, true, true, false)), (String ((Ascii (false, true, false,
-    false, true, true, true, false)), EmptyString)))))))))))))))))))))), (S
-    (S (S (S (S (S (S (S (S (S (S (S (S (S (S
-    O))))))))))))))))) :: []))))))))))); l_cuts =
-    ((mkcut O (S O) EmptyString []) :: ((mkcut (S O) (S (S (S O))) (String
-                                          ((Ascii (false, false, true, false,
-                                          true, false, true, false)), (String
-                                          ((Ascii (true, false, false, true,
-                                          true, true, true, false)), (String
-                                          ((Ascii (false, false, false,
-                                          false, true, true, true, false)),
-                                          (String ((Ascii (true, false, true,
-                                          false, false, true, true, false)),
-                                          (String ((Ascii (true, true, false,
-                                          false, false, false, true, false)),
-                                          (String ((Ascii (true, true, true,
-                                          true, false, true, true, false)),
-                                          (String ((Ascii (false, false,
-                                          true, false, false, true, true,
-                                          false)), (String ((Ascii (true,
-                                          false, true, false, false, true,
-                                          true, false)),
-                                          EmptyString))))))))))))))))
-                                          ((String ((Ascii (true, true,
-                                          false, false, true, true, true,
-                                          false)), (String ((Ascii (false,
-                                          false, true, false, true, true,
-                                          true, false)), (String ((Ascii
-                                          (false, true, false, false, true,
-                                          true, true, false)), (String
-                                          ((Ascii (true, false, false, true,
-                                          false, true, true, false)), (String
-                                          ((Ascii (false, true, true, true,
-                                          false, true, true, false)), (String
-                                          ((Ascii (true, true, true, false,
-                                          false, true, true, false)), (String
-                                          ((Ascii (true, true, false, false,
-                                          true, true, true, false)), (String
-                                          ((Ascii (false, true, true, true,
-                                          false, true, false, false)),
-                                          (String ((Ascii (false, false,
-                                          true, false, true, false, true,
-                                          false)), (String ((Ascii (false,
-                                          true, false, false, true, true,
-                                          true, false)), (String ((Ascii
-                                          (true, false, false, true, false,
-                                          true, true, false)), (String
-                                          ((Ascii (true, false, true, true,
-                                          false, true, true, false)), (String
-                                          ((Ascii (true, true, false, false,
-                                          true, false, true, false)), (String
-                                          ((Ascii (false, false, false,
-                                          false, true, true, true, false)),
-                                          (String ((Ascii (true, false,
-                                          false, false, false, true, true,
-                                          false)), (String ((Ascii (true,
-                                          true, false, false, false, true,
-                                          true, false)), (String ((Ascii
-                                          (true, false, true, false, false,
-                                          true, true, false)),
-                                          EmptyString)))))))))))))))))))))))))))))))))) :: [])) :: (
-    (mkcut (S (S (S O))) (S (S (S (S (S (S O)))))) (String ((Ascii (false,
-      true, false, false, true, false, true, false)), (String ((Ascii (true,
-      false, true, false, false, true, true, false)), (String ((Ascii (false,
-      true, true, false, false, true, true, false)), (String ((Ascii (true,
-      false, true, false, true, true, true, false)), (String ((Ascii (true,
-      true, false, false, true, true, true, false)), (String ((Ascii (true,
-      false, true, false, false, true, true, false)), (String ((Ascii (false,
-      false, true, false, false, true, true, false)), (String ((Ascii (true,
-      true, false, false, false, false, true, false)), (String ((Ascii
-      (false, false, false, true, false, true, true, false)), (String ((Ascii
-      (true, false, false, false, false, true, true, false)), (String ((Ascii
-      (false, true, true, true, false, true, true, false)), (String ((Ascii
-      (true, true, true, false, false, true, true, false)), (String ((Ascii
-      (true, false, true, false, false, true, true, false)), (String ((Ascii
-      (true, true, false, false, false, false, true, false)), (String ((Ascii
-      (true, true, true, true, false, true, true, false)), (String ((Ascii
-      (false, false, true, false, false, true, true, false)), (String ((Ascii
-      (true, false, true, false, false, true, true, false)),
-      EmptyString)))))))))))))))))))))))))))))))))) ((String ((Ascii (true,
-      true, false, false, true, true, true, false)), (String ((Ascii (false,
-      false, true, false, true, true, true, false)), (String ((Ascii (false,
-      true, false, false, true, true, true, false)), (String ((Ascii (true,
-      false, false, true, false, true, true, false)), (String ((Ascii (false,
-      true, true, true, false, true, true, false)), (String ((Ascii (true,
-      true, true, false, false, true, true, false)), (String ((Ascii (true,
-      true, false, false, true, true, true, false)), (String ((Ascii (false,
-      true, true, true, false, true, false, false)), (String ((Ascii (false,
-      false, true, false, true, false, true, false)), (String ((Ascii (false,
-      true, false, false, true, true, true, false)), (String ((Ascii (true,
-      false, false, true, false, true, true, false)), (String ((Ascii (true,
-      false, true, true, false, true, true, false)), (String ((Ascii (true,
-      true, false, false, true, false, true, false)), (String ((Ascii (false,
-      false, false, false, true, true, true, false)), (String ((Ascii (true,
-      false, false, false, false, true, true, false)), (String ((Ascii (true,
-      true, false, false, false, true, true, false)), (String ((Ascii (true,
-      false, true, false, false, true, true, false)),
-      EmptyString)))))))))))))))))))))))))))))))))) :: [])) :: ((mkcut (S (S
-                                                                  (S (S (S (S
-                                                                  O)))))) (S
-                                                                  (S (S (S (S
-                                                                  (S (S (S (S
-                                                                  (S (S (S (S
-                                                                  (S (S (S (S
-                                                                  (S (S (S (S
-                                                                  O)))))))))))))))))))))
-                                                                  (String
-                                                                  ((Ascii
-                                                                  (true,
-                                                                  true, true,
-                                                                  true,
-                                                                  false,
-                                                                  false,
-                                                                  true,
-                                                                  false)),
-                                                                  (String
-                                                                  ((Ascii
-                                                                  (false,
-                                                                  true,
-                                                                  false,
-                                                                  false,
-                                                                  true, true,
-                                                                  true,
-                                                                  false)),
-                                                                  (String
-                                                                  ((Ascii
-                                                                  (true,
-                                                                  false,
-                                                                  false,
-                                                                  true,
-                                                                  false,
-                                                                  true, true,
-                                                                  false)),
-                                                                  (String
-                                                                  ((Ascii
-                                                                  (true,
-                                                                  true, true,
-                                                                  false,
-                                                                  false,
-                                                                  true, true,
-                                                                  false)),
-                                                                  (String
-                                                                  ((Ascii
-                                                                  (true,
-                                                                  false,
-                                                                  false,
-                                                                  true,
-                                                                  false,
-                                                                  true, true,
-                                                                  false)),
-                                                                  (String
-                                                                  ((Ascii
-                                                                  (false,
-                                                                  true, true,
-                                                                  true,
-                                                                  false,
-                                                                  true, true,
-                                                                  false)),
-                                                                  (String
-                                                                  ((Ascii
-                                                                  (true,
-                                                                  false,
-                                                                  false,
-                                                                  false,
-                                                                  false,
-                                                                  true, true,
-                                                                  false)),
-                                                                  (String
-                                                                  ((Ascii
-                                                                  (false,
-                                                                  false,
-                                                                  true, true,
-                                                                  false,
-                                                                  true, true,
-                                                                  false)),
-                                                                  (String
-                                                                  ((Ascii
-                                                                  (false,
-                                                                  false,
-                                                                  true,
-                                                                  false,
-                                                                  true,
-                                                                  false,
-                                                                  true,
-                                                                  false)),
-                                                                  (String
-                                                                  ((Ascii
-                                                                  (false,
-                                                                  true,
-                                                                  false,
-                                                                  false,
-                                                                  true, true,
-                                                                  true,
-                                                                  false)),
-                                                                  (String
-                                                                  ((Ascii
-                                                                  (true,
-                                                                  false,
-                                                                  false,
-                                                                  false,
-                                                                  false,
-                                                                  true, true,
-                                                                  false)),
-                                                                  (String
-                                                                  ((Ascii
-                                                                  (true,
-                                                                  true,
-                                                                  false,
-                                                                  false,
-                                                                  false,
-                                                                  true, true,
-                                                                  false)),
-                                                                  (String
-                                                                  ((Ascii
-                                                                  (true,
-                                                                  false,
-                                                                  true,
-                                                                  false,
-                                                                  false,
-                                                                  true, true,
-                                                                  false)),
-                                                                  EmptyString))))))))))))))))))))))))))
-                                                                  ((String
-                                                                  ((Ascii
-                                                                  (true,
-                                                                  true,
-                                                                  false,
-                                                                  false,
-                                                                  true, true,
-                                                                  true,
-                                                                  false)),
-                                                                  (String
-                                                                  ((Ascii
-                                                                  (false,
-                                                                  false,
-                                                                  true,
-                                                                  false,
-                                                                  true, true,
-                                                                  true,
-                                                                  false)),
-                                                                  (String
-                                                                  ((Ascii
-                                                                  (false,
-                                                                  true,
-                                                                  false,
-                                                                  false,
-                                                                  true, true,
-                                                                  true,
-                                                                  false)),
-                                                                  (String
-                                                                  ((Ascii
-                                                                  (true,
-                                                                  false,
-                                                                  false,
-                                                                  true,
-                                                                  false,
-                                                                  true, true,
-                                                                  false)),
-                                                                  (String
-                                                                  ((Ascii
-                                                                  (false,
-                                                                  true, true,
-                                                                  true,
-                                                                  false,
-                                                                  true, true,
-                                                                  false)),
-                                                                  (String
-                                                                  ((Ascii
-                                                                  (true,
-                                                                  true, true,
-                                                                  false,
-                                                                  false,
-                                                                  true, true,
-                                                                  false)),
-                                                                  (String
-                                                                  ((Ascii
-                                                                  (true,
-                                                                  true,
-                                                                  false,
-                                                                  false,
-                                                                  true, true,
-                                                                  true,
-                                                                  false)),
-                                                                  (String
-                                                                  ((Ascii
-                                                                  (false,
-                                                                  true, true,
-                                                                  true,
-                                                                  false,
-                                                                  true,
-                                                                  false,
-                                                                  false)),
-                                                                  (String
-                                                                  ((Ascii
-                                                                  (false,
-                                                                  false,
-                                                                  true,
-                                                                  false,
-                                                                  true,
-                                                                  false,
-                                                                  true,
-                                                                  false)),
-                                                                  (String
-                                                                  ((Ascii
-                                                                  (false,
-                                                                  true,
-                                                                  false,
-                                                                  false,
-                                                                  true, true,
-                                                                  true,
-                                                                  false)),
-                                                                  (String
-                                                                  ((Ascii
-                                                                  (true,
-                                                                  false,
-                                                                  false,
-                                                                  true,
-                                                                  false,
-                                                                  true, true,
-                                                                  false)),
-                                                                  (String
-                                                                  ((Ascii
-                                                                  (true,
-                                                                  false,
-                                                                  true, true,
-                                                                  false,
-                                                                  true, true,
-                                                                  false)),
-                                                                  (String
-                                                                  ((Ascii
-                                                                  (true,
-                                                                  true,
-                                                                  false,
-                                                                  false,
-                                                                  true,
-                                                                  false,
-                                                                  true,
-                                                                  false)),
-                                                                  (String
-                                                                  ((Ascii
-                                                                  (false,
-                                                                  false,
-                                                                  false,
-                                                                  false,
-                                                                  true, true,
-                                                                  true,
-                                                                  false)),
-                                                                  (String
-                                                                  ((Ascii
-                                                                  (true,
-                                                                  false,
-                                                                  false,
-                                                                  false,
-                                                                  false,
-                                                                  true, true,
-                                                                  false)),
-                                                                  (String
-                                                                  ((Ascii
-                                                                  (true,
-                                                                  true,
-                                                                  false,
-                                                                  false,
-                                                                  false,
-                                                                  true, true,
-                                                                  false)),
-                                                                  (String
-                                                                  ((Ascii
-                                                                  (true,
-                                                                  false,
-                                                                  true,
-                                                                  false,
-                                                                  false,
-                                                                  true, true,
-                                                                  false)),
-                                                                  EmptyString)))))))))))))))))))))))))))))))))) :: [])) :: (
-    (mkcut (S (S (S (S (S (S (S (S (S (S (S (S (S (S (S (S (S (S (S (S (S
-      O))))))))))))))))))))) (S (S (S (S (S (S (S (S (S (S (S (S (S (S (S (S
-      (S (S (S (S (S (S (S (S (S (S (S O)))))))))))))))))))))))))))
-      EmptyString []) :: ((mkcut (S (S (S (S (S (S (S (S (S (S (S (S (S (S (S
-                            (S (S (S (S (S (S (S (S (S (S (S (S
-                            O))))))))))))))))))))))))))) (S (S (S (S (S (S (S
-                            (S (S (S (S (S (S (S (S (S (S (S (S (S (S (S (S
-                            (S (S (S (S (S (S (S (S (S (S (S (S
-                            O))))))))))))))))))))))))))))))))))) (String
-                            ((Ascii (true, true, true, true, false, false,
-                            true, false)), (String ((Ascii (false, true,
-                            false, false, true, true, true, false)), (String
-                            ((Ascii (true, false, false, true, false, true,
-                            true, false)), (String ((Ascii (true, true, true,
-                            false, false, true, true, false)), (String
-                            ((Ascii (true, false, false, true, false, true,
-                            true, false)), (String ((Ascii (false, true,
-                            true, true, false, true, true, false)), (String
-                            ((Ascii (true, false, false, false, false, true,
-                            true, false)), (String ((Ascii (false, false,
-                            true, true, false, true, true, false)), (String
-                            ((Ascii (false, false, true, false, false, false,
-                            true, false)), (String ((Ascii (false, true,
-                            true, false, false, false, true, false)), (String
-                            ((Ascii (true, false, false, true, false, false,
-                            true, false)), EmptyString))))))))))))))))))))))
-                            ((String ((Ascii (false, false, false, false,
-                            true, true, true, false)), (String ((Ascii (true,
-                            false, false, false, false, true, true, false)),
-                            (String ((Ascii (false, true, false, false, true,
-                            true, true, false)), (String ((Ascii (true, true,
-                            false, false, true, true, true, false)), (String
-                            ((Ascii (true, false, true, false, false, true,
-                            true, false)), (String ((Ascii (true, true,
-                            false, false, true, false, true, false)), (String
-                            ((Ascii (false, false, true, false, true, true,
-                            true, false)), (String ((Ascii (false, true,
-                            false, false, true, true, true, false)), (String
-                            ((Ascii (true, false, false, true, false, true,
-                            true, false)), (String ((Ascii (false, true,
-                            true, true, false, true, true, false)), (String
-                            ((Ascii (true, true, true, false, false, true,
-                            true, false)), (String ((Ascii (false, true,
-                            true, false, false, false, true, false)), (String
-                            ((Ascii (true, false, false, true, false, true,
-                            true, false)), (String ((Ascii (true, false,
-                            true, false, false, true, true, false)), (String
-                            ((Ascii (false, false, true, true, false, true,
-                            true, false)), (String ((Ascii (false, false,
-                            true, false, false, true, true, false)),
-                            EmptyString)))))))))))))))))))))))))))))))) :: [])) :: (
-    (mkcut (S (S (S (S (S (S (S (S (S (S (S (S (S (S (S (S (S (S (S (S (S (S
-      (S (S (S (S (S (S (S (S (S (S (S (S (S
-      O))))))))))))))))))))))))))))))))))) (S (S (S (S (S (S (S (S (S (S (S
-      (S (S (S (S (S (S (S (S (S (S (S (S (S (S (S (S (S (S (S (S (S (S (S (S
-      (S (S (S (S (S (S (S (S (S (S (S (S (S (S (S (S (S (S (S (S (S (S (S (S
-      (S (S (S (S (S
-      O))))))))))))))))))))))))))))))))))))))))))))))))))))))))))))))))
-      (String ((Ascii (true, true, false, false, false, false, true, false)),
-      (String ((Ascii (true, true, true, true, false, true, true, false)),
-      (String ((Ascii (false, true, false, false, true, true, true, false)),
-      (String ((Ascii (false, true, false, false, true, true, true, false)),
-      (String ((Ascii (true, false, true, false, false, true, true, false)),
-      (String ((Ascii (true, true, false, false, false, true, true, false)),
-      (String ((Ascii (false, false, true, false, true, true, true, false)),
-      (String ((Ascii (true, false, true, false, false, true, true, false)),
-      (String ((Ascii (false, false, true, false, false, true, true, false)),
-      (String ((Ascii (false, false, true, false, false, false, true,
-      false)), (String ((Ascii (true, false, false, false, false, true, true,
-      false)), (String ((Ascii (false, false, true, false, true, true, true,
-      false)), (String ((Ascii (true, false, false, false, false, true, true,
-      false)), EmptyString)))))))))))))))))))))))))) ((String ((Ascii (true,
-      true, false, false, true, true, true, false)), (String ((Ascii (false,
-      false, true, false, true, true, true, false)), (String ((Ascii (false,
-      true, false, false, true, true, true, false)), (String ((Ascii (true,
-      false, false, true, false, true, true, false)), (String ((Ascii (false,
-      true, true, true, false, true, true, false)), (String ((Ascii (true,
-      true, true, false, false, true, true, false)), (String ((Ascii (true,
-      true, false, false, true, true, true, false)), (String ((Ascii (false,
-      true, true, true, false, true, false, false)), (String ((Ascii (false,
-      false, true, false, true, false, true, false)), (String ((Ascii (false,
-      true, false, false, true, true, true, false)), (String ((Ascii (true,
-      false, false, true, false, true, true, false)), (String ((Ascii (true,
-      false, true, true, false, true, true, false)), (String ((Ascii (true,
-      true, false, false, true, false, true, false)), (String ((Ascii (false,
-      false, false, false, true, true, true, false)), (String ((Ascii (true,
-      false, false, false, false, true, true, false)), (String ((Ascii (true,
-      true, false, false, false, true, true, false)), (String ((Ascii (true,
-      false, true, false, false, true, true, false)),
-      EmptyString)))))))))))))))))))))))))))))))))) :: [])) :: ((mkcut (S (S
-                                                                  (S (S (S (S
-                                                                  (S (S (S (S
-                                                                  (S (S (S (S
-                                                                  (S (S (S (S
-                                                                  (S (S (S (S
-                                                                  (S (S (S (S
-                                                                  (S (S (S (S
-                                                                  (S (S (S (S
-                                                                  (S (S (S (S
-                                                                  (S (S (S (S
-                                                                  (S (S (S (S
-                                                                  (S (S (S (S
-                                                                  (S (S (S (S
-                                                                  (S (S (S (S
-                                                                  (S (S (S (S
-                                                                  (S (S
-                                                                  O))))))))))))))))))))))))))))))))))))))))))))))))))))))))))))))))
-                                                                  (S (S (S (S
-                                                                  (S (S (S (S
-                                                                  (S (S (S (S
-                                                                  (S (S (S (S
-                                                                  (S (S (S (S
-                                                                  (S (S (S (S
-                                                                  (S (S (S (S
-                                                                  (S (S (S (S
-                                                                  (S (S (S (S
-                                                                  (S (S (S (S
-                                                                  (S (S (S (S
-                                                                  (S (S (S (S
-                                                                  (S (S (S (S
-                                                                  (S (S (S (S
-                                                                  (S (S (S (S
-                                                                  (S (S (S (S
-                                                                  (S (S (S
-                                                                  O)))))))))))))))))))))))))))))))))))))))))))))))))))))))))))))))))))
-                                                                  (String
-                                                                  ((Ascii
-                                                                  (true,
-                                                                  true,
-                                                                  false,
-                                                                  false,
-                                                                  false,
-                                                                  false,
-                                                                  true,
-                                                                  false)),
-                                                                  (String
-                                                                  ((Ascii
-                                                                  (false,
-                                                                  false,
-                                                                  false,
-                                                                  true,
-                                                                  false,
-                                                                  true, true,
-                                                                  false)),
-                                                                  (String
-                                                                  ((Ascii
-                                                                  (true,
-                                                                  false,
-                                                                  false,
-                                                                  false,
-                                                                  false,
-                                                                  true, true,
-                                                                  false)),
-                                                                  (String
-                                                                  ((Ascii
-                                                                  (false,
-                                                                  true, true,
-                                                                  true,
-                                                                  false,
-                                                                  true, true,
-                                                                  false)),
-                                                                  (String
-                                                                  ((Ascii
-                                                                  (true,
-                                                                  true, true,
-                                                                  false,
-                                                                  false,
-                                                                  true, true,
-                                                                  false)),
-                                                                  (String
-                                                                  ((Ascii
-                                                                  (true,
-                                                                  false,
-                                                                  true,
-                                                                  false,
-                                                                  false,
-                                                                  true, true,
-                                                                  false)),
-                                                                  (String
-                                                                  ((Ascii
-                                                                  (true,
-                                                                  true,
-                                                                  false,
-                                                                  false,
-                                                                  false,
-                                                                  false,
-                                                                  true,
-                                                                  false)),
-                                                                  (String
-                                                                  ((Ascii
-                                                                  (true,
-                                                                  true, true,
-                                                                  true,
-                                                                  false,
-                                                                  true, true,
-                                                                  false)),
-                                                                  (String
-                                                                  ((Ascii
-                                                                  (false,
-                                                                  false,
-                                                                  true,
-                                                                  false,
-                                                                  false,
-                                                                  true, true,
-                                                                  false)),
-                                                                  (String
-                                                                  ((Ascii
-                                                                  (true,
-                                                                  false,
-                                                                  true,
-                                                                  false,
-                                                                  false,
-                                                                  true, true,
-                                                                  false)),
-                                                                  EmptyString))))))))))))))))))))
-                                                                  ((String
-                                                                  ((Ascii
-                                                                  (true,
-                                                                  true,
-                                                                  false,
-                                                                  false,
-                                                                  true, true,
-                                                                  true,
-                                                                  false)),
-                                                                  (String
-                                                                  ((Ascii
-                                                                  (false,
-                                                                  false,
-                                                                  true,
-                                                                  false,
-                                                                  true, true,
-                                                                  true,
-                                                                  false)),
-                                                                  (String
-                                                                  ((Ascii
-                                                                  (false,
-                                                                  true,
-                                                                  false,
-                                                                  false,
-                                                                  true, true,
-                                                                  true,
-                                                                  false)),
-                                                                  (String
-                                                                  ((Ascii
-                                                                  (true,
-                                                                  false,
-                                                                  false,
-                                                                  true,
-                                                                  false,
-                                                                  true, true,
-                                                                  false)),
-                                                                  (String
-                                                                  ((Ascii
-                                                                  (false,
-                                                                  true, true,
-                                                                  true,
-                                                                  false,
-                                                                  true, true,
-                                                                  false)),
-                                                                  (String
-                                                                  ((Ascii
-                                                                  (true,
-                                                                  true, true,
-                                                                  false,
-                                                                  false,
-                                                                  true, true,
-                                                                  false)),
-                                                                  (String
-                                                                  ((Ascii
-                                                                  (true,
-                                                                  true,
-                                                                  false,
-                                                                  false,
-                                                                  true, true,
-                                                                  true,
-                                                                  false)),
-                                                                  (String
-                                                                  ((Ascii
-                                                                  (false,
-                                                                  true, true,
-                                                                  true,
-                                                                  false,
-                                                                  true,
-                                                                  false,
-                                                                  false)),
-                                                                  (String
-                                                                  ((Ascii
-                                                                  (false,
-                                                                  false,
-                                                                  true,
-                                                                  false,
-                                                                  true,
-                                                                  false,
-                                                                  true,
-                                                                  false)),
-                                                                  (String
-                                                                  ((Ascii
-                                                                  (false,
-                                                                  true,
-                                                                  false,
-                                                                  false,
-                                                                  true, true,
-                                                                  true,
-                                                                  false)),
-                                                                  (String
-                                                                  ((Ascii
-                                                                  (true,
-                                                                  false,
-                                                                  false,
-                                                                  true,
-                                                                  false,
-                                                                  true, true,
-                                                                  false)),
-                                                                  (String
-                                                                  ((Ascii
-                                                                  (true,
-                                                                  false,
-                                                                  true, true,
-                                                                  false,
-                                                                  true, true,
-                                                                  false)),
-                                                                  (String
-                                                                  ((Ascii
-                                                                  (true,
-                                                                  true,
-                                                                  false,
-                                                                  false,
-                                                                  true,
-                                                                  false,
-                                                                  true,
-                                                                  false)),
-                                                                  (String
-                                                                  ((Ascii
-                                                                  (false,
-                                                                  false,
-                                                                  false,
-                                                                  false,
-                                                                  true, true,
-                                                                  true,
-                                                                  false)),
-                                                                  (String
-                                                                  ((Ascii
-                                                                  (true,
-                                                                  false,
-                                                                  false,
-                                                                  false,
-                                                                  false,
-                                                                  true, true,
-                                                                  false)),
-                                                                  (String
-                                                                  ((Ascii
-                                                                  (true,
-                                                                  true,
-                                                                  false,
-                                                                  false,
-                                                                  false,
-                                                                  true, true,
-                                                                  false)),
-                                                                  (String
-                                                                  ((Ascii
-                                                                  (true,
-                                                                  false,
-                                                                  true,
-                                                                  false,
-                                                                  false,
-                                                                  true, true,
-                                                                  false)),
-                                                                  EmptyString)))))))))))))))))))))))))))))))))) :: [])) :: (
-    (mkcut (S (S (S (S (S (S (S (S (S (S (S (S (S (S (S (S (S (S (S (S (S (S
-      (S (S (S (S (S (S (S (S (S (S (S (S (S (S (S (S (S (S (S (S (S (S (S (S
-      (S (S (S (S (S (S (S (S (S (S (S (S (S (S (S (S (S (S (S (S (S
-      O))))))))))))))))))))))))))))))))))))))))))))))))))))))))))))))))))) (S
-      (S (S (S (S (S (S (S (S (S (S (S (S (S (S (S (S (S (S (S (S (S (S (S (S
-      (S (S (S (S (S (S (S (S (S (S (S (S (S (S (S (S (S (S (S (S (S (S (S (S
-      (S (S (S (S (S (S (S (S (S (S (S (S (S (S (S (S (S (S (S (S (S (S (S (S
-      (S
-      O))))))))))))))))))))))))))))))))))))))))))))))))))))))))))))))))))))))))))
-      (String ((Ascii (false, false, true, false, true, false, true, false)),
-      (String ((Ascii (false, true, false, false, true, true, true, false)),
-      (String ((Ascii (true, false, false, false, false, true, true, false)),
-      (String ((Ascii (true, true, false, false, false, true, true, false)),
-      (String ((Ascii (true, false, true, false, false, true, true, false)),
-      (String ((Ascii (true, true, false, false, true, false, true, false)),
-      (String ((Ascii (true, false, true, false, false, true, true, false)),
-      (String ((Ascii (true, false, false, false, true, true, true, false)),
-      (String ((Ascii (true, false, true, false, true, true, true, false)),
-      (String ((Ascii (true, false, true, false, false, true, true, false)),
-      (String ((Ascii (false, true, true, true, false, true, true, false)),
-      (String ((Ascii (true, true, false, false, false, true, true, false)),
-      (String ((Ascii (true, false, true, false, false, true, true, false)),
-      (String ((Ascii (false, true, true, true, false, false, true, false)),
-      (String ((Ascii (true, false, true, false, true, true, true, false)),
-      (String ((Ascii (true, false, true, true, false, true, true, false)),
-      (String ((Ascii (false, true, false, false, false, true, true, false)),
-      (String ((Ascii (true, false, true, false, false, true, true, false)),
-      (String ((Ascii (false, true, false, false, true, true, true, false)),
-      EmptyString)))))))))))))))))))))))))))))))))))))) ((String ((Ascii
-      (true, true, false, false, true, true, true, false)), (String ((Ascii
-      (false, false, true, false, true, true, true, false)), (String ((Ascii
-      (false, true, false, false, true, true, true, false)), (String ((Ascii
-      (true, false, false, true, false, true, true, false)), (String ((Ascii
-      (false, true, true, true, false, true, true, false)), (String ((Ascii
-      (true, true, true, false, false, true, true, false)), (String ((Ascii
-      (true, true, false, false, true, true, true, false)), (String ((Ascii
-      (false, true, true, true, false, true, false, false)), (String ((Ascii
-      (false, false, true, false, true, false, true, false)), (String ((Ascii
-      (false, true, false, false, true, true, true, false)), (String ((Ascii
-      (true, false, false, true, false, true, true, false)), (String ((Ascii
-      (true, false, true, true, false, true, true, false)), (String ((Ascii
-      (true, true, false, false, true, false, true, false)), (String ((Ascii
-      (false, false, false, false, true, true, true, false)), (String ((Ascii
-      (true, false, false, false, false, true, true, false)), (String ((Ascii
-      (true, true, false, false, false, true, true, false)), (String ((Ascii
-      (true, false, true, false, false, true, true, false)),
-      EmptyString)))))))))))))))))))))))))))))))))) :: [])) :: ((mkcut (S (S
-                                                                  (S (S (S (S
-                                                                  (S (S (S (S
-                                                                  (S (S (S (S
-                                                                  (S (S (S (S
-                                                                  (S (S (S (S
-                                                                  (S (S (S (S
-                                                                  (S (S (S (S
-                                                                  (S (S (S (S
-                                                                  (S (S (S (S
-                                                                  (S (S (S (S
-                                                                  (S (S (S (S
-                                                                  (S (S (S (S
-                                                                  (S (S (S (S
-                                                                  (S (S (S (S
-                                                                  (S (S (S (S
-                                                                  (S (S (S (S
-                                                                  (S (S (S (S
-                                                                  (S (S (S (S
-                                                                  O))))))))))))))))))))))))))))))))))))))))))))))))))))))))))))))))))))))))))
-                                                                  (S (S (S (S
-                                                                  (S (S (S (S
-                                                                  (S (S (S (S
-                                                                  (S (S (S (S
-                                                                  (S (S (S (S
-                                                                  (S (S (S (S
-                                                                  (S (S (S (S
-                                                                  (S (S (S (S
-                                                                  (S (S (S (S
-                                                                  (S (S (S (S
-                                                                  (S (S (S (S
-                                                                  (S (S (S (S
-                                                                  (S (S (S (S
-                                                                  (S (S (S (S
-                                                                  (S (S (S (S
-                                                                  (S (S (S (S
-                                                                  (S (S (S (S
-                                                                  (S (S (S (S
-                                                                  (S (S (S (S
-                                                                  (S (S (S
-                                                                  O)))))))))))))))))))))))))))))))))))))))))))))))))))))))))))))))))))))))))))))))
-                                                                  EmptyString
-                                                                  []) :: (
-    (mkcut (S (S (S (S (S (S (S (S (S (S (S (S (S (S (S (S (S (S (S (S (S (S
-      (S (S (S (S (S (S (S (S (S (S (S (S (S (S (S (S (S (S (S (S (S (S (S (S
-      (S (S (S (S (S (S (S (S (S (S (S (S (S (S (S (S (S (S (S (S (S (S (S (S
-      (S (S (S (S (S (S (S (S (S
-      O)))))))))))))))))))))))))))))))))))))))))))))))))))))))))))))))))))))))))))))))
-      (S (S (S (S (S (S (S (S (S (S (S (S (S (S (S (S (S (S (S (S (S (S (S (S
-      (S (S (S (S (S (S (S (S (S (S (S (S (S (S (S (S (S (S (S (S (S (S (S (S
-      (S (S (S (S (S (S (S (S (S (S (S (S (S (S (S (S (S (S (S (S (S (S (S (S
-      (S (S (S (S (S (S (S (S (S (S (S (S (S (S (S (S (S (S (S (S (S (S
-      O))))))))))))))))))))))))))))))))))))))))))))))))))))))))))))))))))))))))))))))))))))))))))))))
-      (String ((Ascii (false, false, true, false, true, false, true, false)),
-      (String ((Ascii (false, true, false, false, true, true, true, false)),
-      (String ((Ascii (true, false, false, false, false, true, true, false)),
-      (String ((Ascii (true, true, false, false, false, true, true, false)),
-      (String ((Ascii (true, false, true, false, false, true, true, false)),
-      (String ((Ascii (false, true, true, true, false, false, true, false)),
-      (String ((Ascii (true, false, true, false, true, true, true, false)),
-      (String ((Ascii (true, false, true, true, false, true, true, false)),
-      (String ((Ascii (false, true, false, false, false, true, true, false)),
-      (String ((Ascii (true, false, true, false, false, true, true, false)),
-      (String ((Ascii (false, true, false, false, true, true, true, false)),
-      EmptyString)))))))))))))))))))))) ((String ((Ascii (true, true, false,
-      false, true, true, true, false)), (String ((Ascii (false, false, true,
-      false, true, true, true, false)), (String ((Ascii (false, true, false,
-      false, true, true, true, false)), (String ((Ascii (true, false, false,
-      true, false, true, true, false)), (String ((Ascii (false, true, true,
-      true, false, true, true, false)), (String ((Ascii (true, true, true,
-      false, false, true, true, false)), (String ((Ascii (true, true, false,
-      false, true, true, true, false)), (String ((Ascii (false, true, true,
-      true, false, true, false, false)), (String ((Ascii (false, false, true,
-      false, true, false, true, false)), (String ((Ascii (false, true, false,
-      false, true, true, true, false)), (String ((Ascii (true, false, false,
-      true, false, true, true, false)), (String ((Ascii (true, false, true,
-      true, false, true, true, false)), (String ((Ascii (true, true, false,
-      false, true, false, true, false)), (String ((Ascii (false, false,
-      false, false, true, true, true, false)), (String ((Ascii (true, false,
-      false, false, false, true, true, false)), (String ((Ascii (true, true,
-      false, false, false, true, true, false)), (String ((Ascii (true, false,
-      true, false, false, true, true, false)),
-      EmptyString)))))))))))))))))))))))))))))))))) :: [])) :: []))))))))))) }
-
-(** val l_Addenda99 : layout **)
-
-let l_Addenda99 =
-  { l_name = (String ((Ascii (true, false, false, false, false, false, true,
-    false)), (String ((Ascii (false, false, true, false, false, true, true,
-    false)), (String ((Ascii (false, false, true, false, false, true, true,
-    false)), (String ((Ascii (true, false, true, false, false, true, true,
-    false)), (String ((Ascii (false, true, true, true, false, true, true,
-    false)), (String ((Ascii (false, false, true, false, false, true, true,
-    false)), (String ((Ascii (true, false, false, false, false, true, true,
-    false)), (String ((Ascii (true, false, false, true, true, true, false,
-    false)), (String ((Ascii (true, false, false, true, true, true, false,
-    false)), EmptyString)))))))))))))))))); l_ix = IRune; l_segs = ((SLit
-    ((Npos (XI (XI (XI (XO (XI XH)))))) :: [])) :: ((SRaw (String ((Ascii
-    (false, false, true, false, true, false, true, false)), (String ((Ascii
-    (true, false, false, true, true, true, true, false)), (String ((Ascii
-    (false, false, false, false, true, true, true, false)), (String ((Ascii
-    (true, false, true, false, false, true, true, false)), (String ((Ascii
-    (true, true, false, false, false, false, true, false)), (String ((Ascii
-    (true, true, true, true, false, true, true, false)), (String ((Ascii
-    (false, false, true, false, false, true, true, false)), (String ((Ascii
-    (true, false, true, false, false, true, true, false)),
-    EmptyString))))))))))))))))) :: ((SRaw (String ((Ascii (false, true,
-    false, false, true, false, true, false)), (String ((Ascii (true, false,
-    true, false, false, true, true, false)), (String ((Ascii (false, false,
-    true, false, true, true, true, false)), (String ((Ascii (true, false,
-    true, false, true, true, true, false)), (String ((Ascii (false, true,
-    false, false, true, true, true, false)), (String ((Ascii (false, true,
-    true, true, false, true, true, false)), (String ((Ascii (true, true,
-    false, false, false, false, true, false)), (String ((Ascii (true, true,
-    true, true, false, true, true, false)), (String ((Ascii (false, false,
-    true, false, false, true, true, false)), (String ((Ascii (true, false,
-    true, false, false, true, true, false)),
-    EmptyString))))))))))))))))))))) :: ((SStr ((String ((Ascii (true, true,
-    true, true, false, false, true, false)), (String ((Ascii (false, true,
-    false, false, true, true, true, false)), (String ((Ascii (true, false,
-    false, true, false, true, true, false)), (String ((Ascii (true, true,
-    true, false, false, true, true, false)), (String ((Ascii (true, false,
-    false, true, false, true, true, false)), (String ((Ascii (false, true,
-    true, true, false, true, true, false)), (String ((Ascii (true, false,
-    false, false, false, true, true, false)), (String ((Ascii (false, false,
-    true, true, false, true, true, false)), (String ((Ascii (false, false,
-    true, false, true, false, true, false)), (String ((Ascii (false, true,
-    false, false, true, true, true, false)), (String ((Ascii (true, false,
-    false, false, false, true, true, false)), (String ((Ascii (true, true,
-    false, false, false, true, true, false)), (String ((Ascii (true, false,
-    true, false, false, true, true, false)),
-    EmptyString)))))))))))))))))))))))))), (S (S (S (S (S (S (S (S (S (S (S
-    (S (S (S (S O))))))))))))))))) :: ((SCustom ((String ((Ascii (true,
-    false, false, false, false, false, true, false)), (String ((Ascii (false,
-    false, true, false, false, true, true, false)), (String ((Ascii (false,
-    false, true, false, false, true, true, false)), (String ((Ascii (true,
-    false, true, false, false, true, true, false)), (String ((Ascii (false,
-    true, true, true, false, true, true, false)), (String ((Ascii (false,
-    false, true, false, false, true, true, false)), (String ((Ascii (true,
-    false, false, false, false, true, true, false)), (String ((Ascii (true,
-    false, false, true, true, true, false, false)), (String ((Ascii (true,
-    false, false, true, true, true, false, false)), (String ((Ascii (false,
-    true, true, true, false, true, false, false)), (String ((Ascii (false,
-    false, true, false, false, false, true, false)), (String ((Ascii (true,
-    false, false, false, false, true, true, false)), (String ((Ascii (false,
-    false, true, false, true, true, true, false)), (String ((Ascii (true,
-    false, true, false, false, true, true, false)), (String ((Ascii (true,
-    true, true, true, false, false, true, false)), (String ((Ascii (false,
-    true, true, false, false, true, true, false)), (String ((Ascii (false,
-    false, true, false, false, false, true, false)), (String ((Ascii (true,
-    false, true, false, false, true, true, false)), (String ((Ascii (true,
-    false, false, false, false, true, true, false)), (String ((Ascii (false,
-    false, true, false, true, true, true, false)), (String ((Ascii (false,
-    false, false, true, false, true, true, false)), (String ((Ascii (false,
-    true, true, false, false, false, true, false)), (String ((Ascii (true,
-    false, false, true, false, true, true, false)), (String ((Ascii (true,
-    false, true, false, false, true, true, false)), (String ((Ascii (false,
-    false, true, true, false, true, true, false)), (String ((Ascii (false,
-    false, true, false, false, true, true, false)),
-    EmptyString)))))))))))))))))))))))))))))))))))))))))))))))))))), (String
-    ((Ascii (true, true, false, false, true, true, false, false)), (String
-    ((Ascii (true, false, true, false, false, true, true, false)), (String
-    ((Ascii (false, true, false, false, true, true, false, false)), (String
-    ((Ascii (false, false, false, true, true, true, false, false)), (String
-    ((Ascii (true, false, true, false, true, true, false, false)), (String
-    ((Ascii (true, false, true, false, false, true, true, false)), (String
-    ((Ascii (true, true, true, false, true, true, false, false)), (String
-    ((Ascii (false, false, false, true, true, true, false, false)), (String
-    ((Ascii (true, false, false, true, true, true, false, false)), (String
-    ((Ascii (true, false, true, false, false, true, true, false)), (String
-    ((Ascii (true, false, true, false, true, true, false, false)), (String
-    ((Ascii (false, false, true, false, true, true, false, false)),
-    EmptyString)))))))))))))))))))))))))) :: ((SStr ((String ((Ascii (true,
-    true, true, true, false, false, true, false)), (String ((Ascii (false,
-    true, false, false, true, true, true, false)), (String ((Ascii (true,
-    false, false, true, false, true, true, false)), (String ((Ascii (true,
-    true, true, false, false, true, true, false)), (String ((Ascii (true,
-    false, false, true, false, true, true, false)), (String ((Ascii (false,
-    true, true, true, false, true, true, false)), (String ((Ascii (true,
-    false, false, false, false, true, true, false)), (String ((Ascii (false,
-    false, true, true, false, true, true, false)), (String ((Ascii (false,
-    false, true, false, false, false, true, false)), (String ((Ascii (false,
-    true, true, false, false, false, true, false)), (String ((Ascii (true,
-    false, false, true, false, false, true, false)),
-    EmptyString)))))))))))))))))))))), (S (S (S (S (S (S (S (S
-    O)))))))))) :: ((SAlpha ((String ((Ascii (true, false, false, false,
-    false, false, true, false)), (String ((Ascii (false, false, true, false,
-    false, true, true, false)), (String ((Ascii (false, false, true, false,
-    false, true, true, false)), (String ((Ascii (true, false, true, false,
-    false, true, true, false)), (String ((Ascii (false, true, true, true,
-    false, true, true, false)), (String ((Ascii (false, false, true, false,
-    false, true, true, false)), (String ((Ascii (true, false, false, false,
-    false, true, true, false)), (String ((Ascii (true, false, false, true,
-    false, false, true, false)), (String ((Ascii (false, true, true, true,
-    false, true, true, false)), (String ((Ascii (false, true, true, false,
-    false, true, true, false)), (String ((Ascii (true, true, true, true,
-    false, true, true, false)), (String ((Ascii (false, true, false, false,
-    true, true, true, false)), (String ((Ascii (true, false, true, true,
-    false, true, true, false)), (String ((Ascii (true, false, false, false,
-    false, true, true, false)), (String ((Ascii (false, false, true, false,
-    true, true, true, false)), (String ((Ascii (true, false, false, true,
-    false, true, true, false)), (String ((Ascii (true, true, true, true,
-    false, true, true, false)), (String ((Ascii (false, true, true, true,
-    false, true, true, false)),
-    EmptyString)))))))))))))))))))))))))))))))))))), (S (S (S (S (S (S (S (S
-    (S (S (S (S (S (S (S (S (S (S (S (S (S (S (S (S (S (S (S (S (S (S (S (S
-    (S (S (S (S (S (S (S (S (S (S (S (S
-    O)))))))))))))))))))))))))))))))))))))))))))))) :: ((SStr ((String
-    ((Ascii (false, false, true, false, true, false, true, false)), (String
-    ((Ascii (false, true, false, false, true, true, true, false)), (String
-    ((Ascii (true, false, false, false, false, true, true, false)), (String
-    ((Ascii (true, true, false, false, false, true, true, false)), (String
-    ((Ascii (true, false, true, false, false, true, true, false)), (String
-    ((Ascii (false, true, true, true, false, false, true, false)), (String
-    ((Ascii (true, false, true, false, true, true, true, false)), (String
-    ((Ascii (true, false, true, true, false, true, true, false)), (String
-    ((Ascii (false, true, false, false, false, true, true, false)), (String
-    ((Ascii (true, false, true, false, false, true, true, false)), (String
-    ((Ascii (false, true, false, false, true, true, true, false)),
-    EmptyString)))))))))))))))))))))), (S (S (S (S (S (S (S (S (S (S (S (S (S
-    (S (S O))))))))))))))))) :: [])))))))); l_cuts =
-    ((mkcut O (S O) EmptyString []) :: ((mkcut (S O) (S (S (S O))) (String
-                                          ((Ascii (false, false, true, false,
-                                          true, false, true, false)), (String
-                                          ((Ascii (true, false, false, true,
-                                          true, true, true, false)), (String
-                                          ((Ascii (false, false, false,
-                                          false, true, true, true, false)),
-                                          (String ((Ascii (true, false, true,
-                                          false, false, true, true, false)),
-                                          (String ((Ascii (true, true, false,
-                                          false, false, false, true, false)),
-                                          (String ((Ascii (true, true, true,
-                                          true, false, true, true, false)),
-                                          (String ((Ascii (false, false,
-                                          true, false, false, true, true,
-                                          false)), (String ((Ascii (true,
-                                          false, true, false, false, true,
-                                          true, false)),
-                                          EmptyString)))))))))))))))) []) :: (
-    (mkcut (S (S (S O))) (S (S (S (S (S (S O)))))) (String ((Ascii (false,
-      true, false, false, true, false, true, false)), (String ((Ascii (true,
-      false, true, false, false, true, true, false)), (String ((Ascii (false,
-      false, true, false, true, true, true, false)), (String ((Ascii (true,
-      false, true, false, true, true, true, false)), (String ((Ascii (false,
-      true, false, false, true, true, true, false)), (String ((Ascii (false,
-      true, true, true, false, true, true, false)), (String ((Ascii (true,
-      true, false, false, false, false, true, false)), (String ((Ascii (true,
-      true, true, true, false, true, true, false)), (String ((Ascii (false,
-      false, true, false, false, true, true, false)), (String ((Ascii (true,
-      false, true, false, false, true, true, false)),
-      EmptyString)))))))))))))))))))) []) :: ((mkcut (S (S (S (S (S (S
-                                                O)))))) (S (S (S (S (S (S (S
-                                                (S (S (S (S (S (S (S (S (S (S
-                                                (S (S (S (S
-                                                O)))))))))))))))))))))
-                                                (String ((Ascii (true, true,
-                                                true, true, false, false,
-                                                true, false)), (String
-                                                ((Ascii (false, true, false,
-                                                false, true, true, true,
-                                                false)), (String ((Ascii
-                                                (true, false, false, true,
-                                                false, true, true, false)),
-                                                (String ((Ascii (true, true,
-                                                true, false, false, true,
-                                                true, false)), (String
-                                                ((Ascii (true, false, false,
-                                                true, false, true, true,
-                                                false)), (String ((Ascii
-                                                (false, true, true, true,
-                                                false, true, true, false)),
-                                                (String ((Ascii (true, false,
-                                                false, false, false, true,
-                                                true, false)), (String
-                                                ((Ascii (false, false, true,
-                                                true, false, true, true,
-                                                false)), (String ((Ascii
-                                                (false, false, true, false,
-                                                true, false, true, false)),
-                                                (String ((Ascii (false, true,
-                                                false, false, true, true,
-                                                true, false)), (String
-                                                ((Ascii (true, false, false,
-                                                false, false, true, true,
-                                                false)), (String ((Ascii
-                                                (true, true, false, false,
-                                                false, true, true, false)),
-                                                (String ((Ascii (true, false,
-                                                true, false, false, true,
-                                                true, false)),
-                                                EmptyString))))))))))))))))))))))))))
-                                                ((String ((Ascii (true, true,
-                                                false, false, true, true,
-                                                true, false)), (String
-                                                ((Ascii (false, false, true,
-                                                false, true, true, true,
-                                                false)), (String ((Ascii
-                                                (false, true, false, false,
-                                                true, true, true, false)),
-                                                (String ((Ascii (true, false,
-                                                false, true, false, true,
-                                                true, false)), (String
-                                                ((Ascii (false, true, true,
-                                                true, false, true, true,
-                                                false)), (String ((Ascii
-                                                (true, true, true, false,
-                                                false, true, true, false)),
-                                                (String ((Ascii (true, true,
-                                                false, false, true, true,
-                                                true, false)), (String
-                                                ((Ascii (false, true, true,
-                                                true, false, true, false,
-                                                false)), (String ((Ascii
-                                                (false, false, true, false,
-                                                true, false, true, false)),
-                                                (String ((Ascii (false, true,
-                                                false, false, true, true,
-                                                true, false)), (String
-                                                ((Ascii (true, false, false,
-                                                true, false, true, true,
-                                                false)), (String ((Ascii
-                                                (true, false, true, true,
-                                                false, true, true, false)),
-                                                (String ((Ascii (true, true,
-                                                false, false, true, false,
-                                                true, false)), (String
-                                                ((Ascii (false, false, false,
-                                                false, true, true, true,
-                                                false)), (String ((Ascii
-                                                (true, false, false, false,
-                                                false, true, true, false)),
-                                                (String ((Ascii (true, true,
-                                                false, false, false, true,
-                                                true, false)), (String
-                                                ((Ascii (true, false, true,
-                                                false, false, true, true,
-                                                false)),
-                                                EmptyString)))))))))))))))))))))))))))))))))) :: [])) :: (
-    (mkcut (S (S (S (S (S (S (S (S (S (S (S (S (S (S (S (S (S (S (S (S (S
-      O))))))))))))))))))))) (S (S (S (S (S (S (S (S (S (S (S (S (S (S (S (S
-      (S (S (S (S (S (S (S (S (S (S (S O))))))))))))))))))))))))))) (String
-      ((Ascii (false, false, true, false, false, false, true, false)),
-      (String ((Ascii (true, false, false, false, false, true, true, false)),
-      (String ((Ascii (false, false, true, false, true, true, true, false)),
-      (String ((Ascii (true, false, true, false, false, true, true, false)),
-      (String ((Ascii (true, true, true, true, false, false, true, false)),
-      (String ((Ascii (false, true, true, false, false, true, true, false)),
-      (String ((Ascii (false, false, true, false, false, false, true,
-      false)), (String ((Ascii (true, false, true, false, false, true, true,
-      false)), (String ((Ascii (true, false, false, false, false, true, true,
-      false)), (String ((Ascii (false, false, true, false, true, true, true,
-      false)), (String ((Ascii (false, false, false, true, false, true, true,
-      false)), EmptyString)))))))))))))))))))))) ((String ((Ascii (false,
-      true, true, false, true, true, true, false)), (String ((Ascii (true,
-      false, false, false, false, true, true, false)), (String ((Ascii
-      (false, false, true, true, false, true, true, false)), (String ((Ascii
-      (true, false, false, true, false, true, true, false)), (String ((Ascii
-      (false, false, true, false, false, true, true, false)), (String ((Ascii
-      (true, false, false, false, false, true, true, false)), (String ((Ascii
-      (false, false, true, false, true, true, true, false)), (String ((Ascii
-      (true, false, true, false, false, true, true, false)), (String ((Ascii
-      (true, true, false, false, true, false, true, false)), (String ((Ascii
-      (true, false, false, true, false, true, true, false)), (String ((Ascii
-      (true, false, true, true, false, true, true, false)), (String ((Ascii
-      (false, false, false, false, true, true, true, false)), (String ((Ascii
-      (false, false, true, true, false, true, true, false)), (String ((Ascii
-      (true, false, true, false, false, true, true, false)), (String ((Ascii
-      (false, false, true, false, false, false, true, false)), (String
-      ((Ascii (true, false, false, false, false, true, true, false)), (String
-      ((Ascii (false, false, true, false, true, true, true, false)), (String
-      ((Ascii (true, false, true, false, false, true, true, false)),
-      EmptyString)))))))))))))))))))))))))))))))))))) :: [])) :: ((mkcut (S
-                                                                    (S (S (S
-                                                                    (S (S (S
-                                                                    (S (S (S
-                                                                    (S (S (S
-                                                                    (S (S (S
-                                                                    (S (S (S
-                                                                    (S (S (S
-                                                                    (S (S (S
-                                                                    (S (S
-                                                                    O)))))))))))))))))))))))))))
-                                                                    (S (S (S
-                                                                    (S (S (S
-                                                                    (S (S (S
-                                                                    (S (S (S
-                                                                    (S (S (S
-                                                                    (S (S (S
-                                                                    (S (S (S
-                                                                    (S (S (S
-                                                                    (S (S (S
-                                                                    (S (S (S
-                                                                    (S (S (S
-                                                                    (S (S
-                                                                    O)))))))))))))))))))))))))))))))))))
-                                                                    (String
-                                                                    ((Ascii
-                                                                    (true,
-                                                                    true,
-                                                                    true,
-                                                                    true,
-                                                                    false,
-                                                                    false,
-                                                                    true,
-                                                                    false)),
-                                                                    (String
-                                                                    ((Ascii
-                                                                    (false,
-                                                                    true,
-                                                                    false,
-                                                                    false,
-                                                                    true,
-                                                                    true,
-                                                                    true,
-                                                                    false)),
-                                                                    (String
-                                                                    ((Ascii
-                                                                    (true,
-                                                                    false,
-                                                                    false,
-                                                                    true,
-                                                                    false,
-                                                                    true,
-                                                                    true,
-                                                                    false)),
-                                                                    (String
-                                                                    ((Ascii
-                                                                    (true,
-                                                                    true,
-                                                                    true,
-                                                                    false,
-                                                                    false,
-                                                                    true,
-                                                                    true,
-                                                                    false)),
-                                                                    (String
-                                                                    ((Ascii
-                                                                    (true,
-                                                                    false,
-                                                                    false,
-                                                                    true,
-                                                                    false,
-                                                                    true,
-                                                                    true,
-                                                                    false)),
-                                                                    (String
-                                                                    ((Ascii
-                                                                    (false,
-                                                                    true,
-                                                                    true,
-                                                                    true,
-                                                                    false,
-                                                                    true,
-                                                                    true,
-                                                                    false)),
-                                                                    (String
-                                                                    ((Ascii
-                                                                    (true,
-                                                                    false,
-                                                                    false,
-                                                                    false,
-                                                                    false,
-                                                                    true,
-                                                                    true,
-                                                                    false)),
-                                                                    (String
-                                                                    ((Ascii
-                                                                    (false,
-                                                                    false,
-                                                                    true,
-                                                                    true,
-                                                                    false,
-                                                                    true,
-                                                                    true,
-                                                                    false)),
-                                                                    (String
-                                                                    ((Ascii
-                                                                    (false,
-                                                                    false,
-                                                                    true,
-                                                                    false,
-                                                                    false,
-                                                                    false,
-                                                                    true,
-                                                                    false)),
-                                                                    (String
-                                                                    ((Ascii
-                                                                    (false,
-                                                                    true,
-                                                                    true,
-                                                                    false,
-                                                                    false,
-                                                                    false,
-                                                                    true,
-                                                                    false)),
-                                                                    (String
-                                                                    ((Ascii
-                                                                    (true,
-                                                                    false,
-                                                                    false,
-                                                                    true,
-                                                                    false,
-                                                                    false,
-                                                                    true,
-                                                                    false)),
-                                                                    EmptyString))))))))))))))))))))))
-                                                                    ((String
-                                                                    ((Ascii
-                                                                    (false,
-                                                                    false,
-                                                                    false,
-                                                                    false,
-                                                                    true,
-                                                                    true,
-                                                                    true,
-                                                                    false)),
-                                                                    (String
-                                                                    ((Ascii
-                                                                    (true,
-                                                                    false,
-                                                                    false,
-                                                                    false,
-                                                                    false,
-                                                                    true,
-                                                                    true,
-                                                                    false)),
-                                                                    (String
-                                                                    ((Ascii
-                                                                    (false,
-                                                                    true,
-                                                                    false,
-                                                                    false,
-                                                                    true,
-                                                                    true,
-                                                                    true,
-                                                                    false)),
-                                                                    (String
-                                                                    ((Ascii
-                                                                    (true,
-                                                                    true,
-                                                                    false,
-                                                                    false,
-                                                                    true,
-                                                                    true,
-                                                                    true,
-                                                                    false)),
-                                                                    (String
-                                                                    ((Ascii
-                                                                    (true,
-                                                                    false,
-                                                                    true,
-                                                                    false,
-                                                                    false,
-                                                                    true,
-                                                                    true,
-                                                                    false)),
-                                                                    (String
-                                                                    ((Ascii
-                                                                    (true,
-                                                                    true,
-                                                                    false,
-                                                                    false,
-                                                                    true,
-                                                                    false,
-                                                                    true,
-                                                                    false)),
-                                                                    (String
-                                                                    ((Ascii
-                                                                    (false,
-                                                                    false,
-                                                                    true,
-                                                                    false,
-                                                                    true,
-                                                                    true,
-                                                                    true,
-                                                                    false)),
-                                                                    (String
-                                                                    ((Ascii
-                                                                    (false,
-                                                                    true,
-                                                                    false,
-                                                                    false,
-                                                                    true,
-                                                                    true,
-                                                                    true,
-                                                                    false)),
-                                                                    (String
-                                                                    ((Ascii
-                                                                    (true,
-                                                                    false,
-                                                                    false,
-                                                                    true,
-                                                                    false,
-                                                                    true,
-                                                                    true,
-                                                                    false)),
-                                                                    (String
-                                                                    ((Ascii
-                                                                    (false,
-                                                                    true,
-                                                                    true,
-                                                                    true,
-                                                                    false,
-                                                                    true,
-                                                                    true,
-                                                                    false)),
-                                                                    (String
-                                                                    ((Ascii
-                                                                    (true,
-                                                                    true,
-                                                                    true,
-                                                                    false,
-                                                                    false,
-                                                                    true,
-                                                                    true,
-                                                                    false)),
-                                                                    (String
-                                                                    ((Ascii
-                                                                    (false,
-                                                                    true,
-                                                                    true,
-                                                                    false,
-                                                                    false,
-                                                                    false,
-                                                                    true,
-                                                                    false)),
-                                                                    (String
-                                                                    ((Ascii
-                                                                    (true,
-                                                                    false,
-                                                                    false,
-                                                                    true,
-                                                                    false,
-                                                                    true,
-                                                                    true,
-                                                                    false)),
-                                                                    (String
-                                                                    ((Ascii
-                                                                    (true,
-                                                                    false,
-                                                                    true,
-                                                                    false,
-                                                                    false,
-                                                                    true,
-                                                                    true,
-                                                                    false)),
-                                                                    (String
-                                                                    ((Ascii
-                                                                    (false,
-                                                                    false,
-                                                                    true,
-                                                                    true,
-                                                                    false,
-                                                                    true,
-                                                                    true,
-                                                                    false)),
-                                                                    (String
-                                                                    ((Ascii
-                                                                    (false,
-                                                                    false,
-                                                                    true,
-                                                                    false,
-                                                                    false,
-                                                                    true,
-                                                                    true,
-                                                                    false)),
-                                                                    EmptyString)))))))))))))))))))))))))))))))) :: [])) :: (
-    (mkcut (S (S (S (S (S (S (S (S (S (S (S (S (S (S (S (S (S (S (S (S (S (S
-      (S (S (S (S (S (S (S (S (S (S (S (S (S
-      O))))))))))))))))))))))))))))))))))) (S (S (S (S (S (S (S (S (S (S (S
-      (S (S (S (S (S (S (S (S (S (S (S (S (S (S (S (S (S (S (S (S (S (S (S (S
-      (S (S (S (S (S (S (S (S (S (S (S (S (S (S (S (S (S (S (S (S (S (S (S (S
-      (S (S (S (S (S (S (S (S (S (S (S (S (S (S (S (S (S (S (S (S
-      O)))))))))))))))))))))))))))))))))))))))))))))))))))))))))))))))))))))))))))))))
-      (String ((Ascii (true, false, false, false, false, false, true,
-      false)), (String ((Ascii (false, false, true, false, false, true, true,
-      false)), (String ((Ascii (false, false, true, false, false, true, true,
-      false)), (String ((Ascii (true, false, true, false, false, true, true,
-      false)), (String ((Ascii (false, true, true, true, false, true, true,
-      false)), (String ((Ascii (false, false, true, false, false, true, true,
-      false)), (String ((Ascii (true, false, false, false, false, true, true,
-      false)), (String ((Ascii (true, false, false, true, false, false, true,
-      false)), (String ((Ascii (false, true, true, true, false, true, true,
-      false)), (String ((Ascii (false, true, true, false, false, true, true,
-      false)), (String ((Ascii (true, true, true, true, false, true, true,
-      false)), (String ((Ascii (false, true, false, false, true, true, true,
-      false)), (String ((Ascii (true, false, true, true, false, true, true,
-      false)), (String ((Ascii (true, false, false, false, false, true, true,
-      false)), (String ((Ascii (false, false, true, false, true, true, true,
-      false)), (String ((Ascii (true, false, false, true, false, true, true,
-      false)), (String ((Ascii (true, true, true, true, false, true, true,
-      false)), (String ((Ascii (false, true, true, true, false, true, true,
-      false)), EmptyString)))))))))))))))))))))))))))))))))))) []) :: (
-    (mkcut (S (S (S (S (S (S (S (S (S (S (S (S (S (S (S (S (S (S (S (S (S (S
-      (S (S (S (S (S (S (S (S (S (S (S (S (S (S (S (S (S (S (S (S (S (S (S (S
-      (S (S (S (S (S (S (S (S (S (S (S (S (S (S (S (S (S (S (S (S (S (S (S (S
-      (S (S (S (S (S (S (S (S (S
-      O)))))))))))))))))))))))))))))))))))))))))))))))))))))))))))))))))))))))))))))))
-      (S (S (S (S (S (S (S (S (S (S (S (S (S (S (S (S (S (S (S (S (S (S (S (S
-      (S (S (S (S (S (S (S (S (S (S (S (S (S (S (S (S (S (S (S (S (S (S (S (S
-      (S (S (S (S (S (S (S (S (S (S (S (S (S (S (S (S (S (S (S (S (S (S (S (S
-      (S (S (S (S (S (S (S (S (S (S (S (S (S (S (S (S (S (S (S (S (S (S
-      O))))))))))))))))))))))))))))))))))))))))))))))))))))))))))))))))))))))))))))))))))))))))))))))
-      (String ((Ascii (false, false, true, false, true, false, true, false)),
-      (String ((Ascii (false, true, false, false, true, true, true, false)),
-      (String ((Ascii (true, false, false, false, false, true, true, false)),
-      (String ((Ascii (true, true, false, false, false, true, true, false)),
-      (String ((Ascii (true, false, true, false, false, true, true, false)),
-      (String ((Ascii (false, true, true, true, false, false, true, false)),
-      (String ((Ascii (true, false, true, false, true, true, true, false)),
-      (String ((Ascii (true, false, true, true, false, true, true, false)),
-      (String ((Ascii (false, true, false, false, false, true, true, false)),
-      (String ((Ascii (true, false, true, false, false, true, true, false)),
-      (String ((Ascii (false, true, false, false, true, true, true, false)),
-      EmptyString)))))))))))))))))))))) ((String ((Ascii (true, true, false,
-      false, true, true, true, false)), (String ((Ascii (false, false, true,
-      false, true, true, true, false)), (String ((Ascii (false, true, false,
-      false, true, true, true, false)), (String ((Ascii (true, false, false,
-      true, false, true, true, false)), (String ((Ascii (false, true, true,
-      true, false, true, true, false)), (String ((Ascii (true, true, true,
-      false, false, true, true, false)), (String ((Ascii (true, true, false,
-      false, true, true, true, false)), (String ((Ascii (false, true, true,
-      true, false, true, false, false)), (String ((Ascii (false, false, true,
-      false, true, false, true, false)), (String ((Ascii (false, true, false,
-      false, true, true, true, false)), (String ((Ascii (true, false, false,
-      true, false, true, true, false)), (String ((Ascii (true, false, true,
-      true, false, true, true, false)), (String ((Ascii (true, true, false,
-      false, true, false, true, false)), (String ((Ascii (false, false,
-      false, false, true, true, true, false)), (String ((Ascii (true, false,
-      false, false, false, true, true, false)), (String ((Ascii (true, true,
-      false, false, false, true, true, false)), (String ((Ascii (true, false,
-      true, false, false, true, true, false)),
-      EmptyString)))))))))))))))))))))))))))))))))) :: [])) :: [])))))))) }
-
-(** val l_Addenda99Contested : layout **)
-
-let l_Addenda99Contested =
-  { l_name = (String ((Ascii (true, false, false, false, false, false, true,
-    false)), (String ((Ascii (false, false, true, false, false, true, true,
-    false)), (String ((Ascii (false, false, true, false, false, true, true,
-    false)), (String ((Ascii (true, false, true, false, false, true, true,
-    false)), (String ((Ascii (false, true, true, true, false, true, true,
-    false)), (String ((Ascii (false, false, true, false, false, true, true,
-    false)), (String ((Ascii (true, false, false, false, false, true, true,
-    false)), (String ((Ascii (true, false, false, true, true, true, false,
-    false)), (String ((Ascii (true, false, false, true, true, true, false,
-    false)), (String ((Ascii (true, true, false, false, false, false, true,
-    false)), (String ((Ascii (true, true, true, true, false, true, true,
-    false)), (String ((Ascii (false, true, true, true, false, true, true,
-    false)), (String ((Ascii (false, false, true, false, true, true, true,
-    false)), (String ((Ascii (true, false, true, false, false, true, true,
-    false)), (String ((Ascii (true, true, false, false, true, true, true,
-    false)), (String ((Ascii (false, false, true, false, true, true, true,
-    false)), (String ((Ascii (true, false, true, false, false, true, true,
-    false)), (String ((Ascii (false, false, true, false, false, true, true,
-    false)), EmptyString)))))))))))))))))))))))))))))))))))); l_ix = IRune;
-    l_segs = ((SLit ((Npos (XI (XI (XI (XO (XI XH)))))) :: [])) :: ((SRaw
-    (String ((Ascii (false, false, true, false, true, false, true, false)),
-    (String ((Ascii (true, false, false, true, true, true, true, false)),
-    (String ((Ascii (false, false, false, false, true, true, true, false)),
-    (String ((Ascii (true, false, true, false, false, true, true, false)),
-    (String ((Ascii (true, true, false, false, false, false, true, false)),
-    (String ((Ascii (true, true, true, true, false, true, true, false)),
-    (String ((Ascii (false, false, true, false, false, true, true, false)),
-    (String ((Ascii (true, false, true, false, false, true, true, false)),
-    EmptyString))))))))))))))))) :: ((SStr ((String ((Ascii (true, true,
-    false, false, false, false, true, false)), (String ((Ascii (true, true,
-    true, true, false, true, true, false)), (String ((Ascii (false, true,
-    true, true, false, true, true, false)), (String ((Ascii (false, false,
-    true, false, true, true, true, false)), (String ((Ascii (true, false,
-    true, false, false, true, true, false)), (String ((Ascii (true, true,
-    false, false, true, true, true, false)), (String ((Ascii (false, false,
-    true, false, true, true, true, false)), (String ((Ascii (true, false,
-    true, false, false, true, true, false)), (String ((Ascii (false, false,
-    true, false, false, true, true, false)), (String ((Ascii (false, true,
-    false, false, true, false, true, false)), (String ((Ascii (true, false,
-    true, false, false, true, true, false)), (String ((Ascii (false, false,
-    true, false, true, true, true, false)), (String ((Ascii (true, false,
-    true, false, true, true, true, false)), (String ((Ascii (false, true,
-    false, false, true, true, true, false)), (String ((Ascii (false, true,
-    true, true, false, true, true, false)), (String ((Ascii (true, true,
-    false, false, false, false, true, false)), (String ((Ascii (true, true,
-    true, true, false, true, true, false)), (String ((Ascii (false, false,
-    true, false, false, true, true, false)), (String ((Ascii (true, false,
-    true, false, false, true, true, false)),
-    EmptyString)))))))))))))))))))))))))))))))))))))), (S (S (S
-    O))))) :: ((SStr ((String ((Ascii (true, true, true, true, false, false,
-    true, false)), (String ((Ascii (false, true, false, false, true, true,
-    true, false)), (String ((Ascii (true, false, false, true, false, true,
-    true, false)), (String ((Ascii (true, true, true, false, false, true,
-    true, false)), (String ((Ascii (true, false, false, true, false, true,
-    true, false)), (String ((Ascii (false, true, true, true, false, true,
-    true, false)), (String ((Ascii (true, false, false, false, false, true,
-    true, false)), (String ((Ascii (false, false, true, true, false, true,
-    true, false)), (String ((Ascii (true, false, true, false, false, false,
-    true, false)), (String ((Ascii (false, true, true, true, false, true,
-    true, false)), (String ((Ascii (false, false, true, false, true, true,
-    true, false)), (String ((Ascii (false, true, false, false, true, true,
-    true, false)), (String ((Ascii (true, false, false, true, true, true,
-    true, false)), (String ((Ascii (false, false, true, false, true, false,
-    true, false)), (String ((Ascii (false, true, false, false, true, true,
-    true, false)), (String ((Ascii (true, false, false, false, false, true,
-    true, false)), (String ((Ascii (true, true, false, false, false, true,
-    true, false)), (String ((Ascii (true, false, true, false, false, true,
-    true, false)), (String ((Ascii (false, true, true, true, false, false,
-    true, false)), (String ((Ascii (true, false, true, false, true, true,
-    true, false)), (String ((Ascii (true, false, true, true, false, true,
-    true, false)), (String ((Ascii (false, true, false, false, false, true,
-    true, false)), (String ((Ascii (true, false, true, false, false, true,
-    true, false)), (String ((Ascii (false, true, false, false, true, true,
-    true, false)),
-    EmptyString)))))))))))))))))))))))))))))))))))))))))))))))), (S (S (S (S
-    (S (S (S (S (S (S (S (S (S (S (S O))))))))))))))))) :: ((SStr ((String
-    ((Ascii (false, false, true, false, false, false, true, false)), (String
-    ((Ascii (true, false, false, false, false, true, true, false)), (String
-    ((Ascii (false, false, true, false, true, true, true, false)), (String
-    ((Ascii (true, false, true, false, false, true, true, false)), (String
-    ((Ascii (true, true, true, true, false, false, true, false)), (String
-    ((Ascii (false, true, false, false, true, true, true, false)), (String
-    ((Ascii (true, false, false, true, false, true, true, false)), (String
-    ((Ascii (true, true, true, false, false, true, true, false)), (String
-    ((Ascii (true, false, false, true, false, true, true, false)), (String
-    ((Ascii (false, true, true, true, false, true, true, false)), (String
-    ((Ascii (true, false, false, false, false, true, true, false)), (String
-    ((Ascii (false, false, true, true, false, true, true, false)), (String
-    ((Ascii (true, false, true, false, false, false, true, false)), (String
-    ((Ascii (false, true, true, true, false, true, true, false)), (String
-    ((Ascii (false, false, true, false, true, true, true, false)), (String
-    ((Ascii (false, true, false, false, true, true, true, false)), (String
-    ((Ascii (true, false, false, true, true, true, true, false)), (String
-    ((Ascii (false, true, false, false, true, false, true, false)), (String
-    ((Ascii (true, false, true, false, false, true, true, false)), (String
-    ((Ascii (false, false, true, false, true, true, true, false)), (String
-    ((Ascii (true, false, true, false, true, true, true, false)), (String
-    ((Ascii (false, true, false, false, true, true, true, false)), (String
-    ((Ascii (false, true, true, true, false, true, true, false)), (String
-    ((Ascii (true, false, true, false, false, true, true, false)), (String
-    ((Ascii (false, false, true, false, false, true, true, false)),
-    EmptyString)))))))))))))))))))))))))))))))))))))))))))))))))), (S (S (S
-    (S (S (S O)))))))) :: ((SStr ((String ((Ascii (true, true, true, true,
-    false, false, true, false)), (String ((Ascii (false, true, false, false,
-    true, true, true, false)), (String ((Ascii (true, false, false, true,
-    false, true, true, false)), (String ((Ascii (true, true, true, false,
-    false, true, true, false)), (String ((Ascii (true, false, false, true,
-    false, true, true, false)), (String ((Ascii (false, true, true, true,
-    false, true, true, false)), (String ((Ascii (true, false, false, false,
-    false, true, true, false)), (String ((Ascii (false, false, true, true,
-    false, true, true, false)), (String ((Ascii (false, true, false, false,
-    true, false, true, false)), (String ((Ascii (true, false, true, false,
-    false, true, true, false)), (String ((Ascii (true, true, false, false,
-    false, true, true, false)), (String ((Ascii (true, false, true, false,
-    false, true, true, false)), (String ((Ascii (true, false, false, true,
-    false, true, true, false)), (String ((Ascii (false, true, true, false,
-    true, true, true, false)), (String ((Ascii (true, false, false, true,
-    false, true, true, false)), (String ((Ascii (false, true, true, true,
-    false, true, true, false)), (String ((Ascii (true, true, true, false,
-    false, true, true, false)), (String ((Ascii (false, false, true, false,
-    false, false, true, false)), (String ((Ascii (false, true, true, false,
-    false, false, true, false)), (String ((Ascii (true, false, false, true,
-    false, false, true, false)), (String ((Ascii (true, false, false, true,
-    false, false, true, false)), (String ((Ascii (false, false, true, false,
-    false, true, true, false)), (String ((Ascii (true, false, true, false,
-    false, true, true, false)), (String ((Ascii (false, true, true, true,
-    false, true, true, false)), (String ((Ascii (false, false, true, false,
-    true, true, true, false)), (String ((Ascii (true, false, false, true,
-    false, true, true, false)), (String ((Ascii (false, true, true, false,
-    false, true, true, false)), (String ((Ascii (true, false, false, true,
-    false, true, true, false)), (String ((Ascii (true, true, false, false,
-    false, true, true, false)), (String ((Ascii (true, false, false, false,
-    false, true, true, false)), (String ((Ascii (false, false, true, false,
-    true, true, true, false)), (String ((Ascii (true, false, false, true,
-    false, true, true, false)), (String ((Ascii (true, true, true, true,
-    false, true, true, false)), (String ((Ascii (false, true, true, true,
-    false, true, true, false)),
-    EmptyString)))))))))))))))))))))))))))))))))))))))))))))))))))))))))))))))))))),
-    (S (S (S (S (S (S (S (S O)))))))))) :: ((SStr ((String ((Ascii (true,
-    true, true, true, false, false, true, false)), (String ((Ascii (false,
-    true, false, false, true, true, true, false)), (String ((Ascii (true,
-    false, false, true, false, true, true, false)), (String ((Ascii (true,
-    true, true, false, false, true, true, false)), (String ((Ascii (true,
-    false, false, true, false, true, true, false)), (String ((Ascii (false,
-    true, true, true, false, true, true, false)), (String ((Ascii (true,
-    false, false, false, false, true, true, false)), (String ((Ascii (false,
-    false, true, true, false, true, true, false)), (String ((Ascii (true,
-    true, false, false, true, false, true, false)), (String ((Ascii (true,
-    false, true, false, false, true, true, false)), (String ((Ascii (false,
-    false, true, false, true, true, true, false)), (String ((Ascii (false,
-    false, true, false, true, true, true, false)), (String ((Ascii (false,
-    false, true, true, false, true, true, false)), (String ((Ascii (true,
-    false, true, false, false, true, true, false)), (String ((Ascii (true,
-    false, true, true, false, true, true, false)), (String ((Ascii (true,
-    false, true, false, false, true, true, false)), (String ((Ascii (false,
-    true, true, true, false, true, true, false)), (String ((Ascii (false,
-    false, true, false, true, true, true, false)), (String ((Ascii (false,
-    false, true, false, false, false, true, false)), (String ((Ascii (true,
-    false, false, false, false, true, true, false)), (String ((Ascii (false,
-    false, true, false, true, true, true, false)), (String ((Ascii (true,
-    false, true, false, false, true, true, false)),
-    EmptyString)))))))))))))))))))))))))))))))))))))))))))), (S (S (S
-    O))))) :: ((SStr ((String ((Ascii (false, true, false, false, true,
-    false, true, false)), (String ((Ascii (true, false, true, false, false,
-    true, true, false)), (String ((Ascii (false, false, true, false, true,
-    true, true, false)), (String ((Ascii (true, false, true, false, true,
-    true, true, false)), (String ((Ascii (false, true, false, false, true,
-    true, true, false)), (String ((Ascii (false, true, true, true, false,
-    true, true, false)), (String ((Ascii (false, false, true, false, true,
-    false, true, false)), (String ((Ascii (false, true, false, false, true,
-    true, true, false)), (String ((Ascii (true, false, false, false, false,
-    true, true, false)), (String ((Ascii (true, true, false, false, false,
-    true, true, false)), (String ((Ascii (true, false, true, false, false,
-    true, true, false)), (String ((Ascii (false, true, true, true, false,
-    false, true, false)), (String ((Ascii (true, false, true, false, true,
-    true, true, false)), (String ((Ascii (true, false, true, true, false,
-    true, true, false)), (String ((Ascii (false, true, false, false, false,
-    true, true, false)), (String ((Ascii (true, false, true, false, false,
-    true, true, false)), (String ((Ascii (false, true, false, false, true,
-    true, true, false)), EmptyString)))))))))))))))))))))))))))))))))), (S (S
-    (S (S (S (S (S (S (S (S (S (S (S (S (S O))))))))))))))))) :: ((SStr
-    ((String ((Ascii (false, true, false, false, true, false, true, false)),
-    (String ((Ascii (true, false, true, false, false, true, true, false)),
-    (String ((Ascii (false, false, true, false, true, true, true, false)),
-    (String ((Ascii (true, false, true, false, true, true, true, false)),
-    (String ((Ascii (false, true, false, false, true, true, true, false)),
-    (String ((Ascii (false, true, true, true, false, true, true, false)),
-    (String ((Ascii (true, true, false, false, true, false, true, false)),
-    (String ((Ascii (true, false, true, false, false, true, true, false)),
-    (String ((Ascii (false, false, true, false, true, true, true, false)),
-    (String ((Ascii (false, false, true, false, true, true, true, false)),
-    (String ((Ascii (false, false, true, true, false, true, true, false)),
-    (String ((Ascii (true, false, true, false, false, true, true, false)),
-    (String ((Ascii (true, false, true, true, false, true, true, false)),
-    (String ((Ascii (true, false, true, false, false, true, true, false)),
-    (String ((Ascii (false, true, true, true, false, true, true, false)),
-    (String ((Ascii (false, false, true, false, true, true, true, false)),
-    (String ((Ascii (false, false, true, false, false, false, true, false)),
-    (String ((Ascii (true, false, false, false, false, true, true, false)),
-    (String ((Ascii (false, false, true, false, true, true, true, false)),
-    (String ((Ascii (true, false, true, false, false, true, true, false)),
-    EmptyString)))))))))))))))))))))))))))))))))))))))), (S (S (S
-    O))))) :: ((SStr ((String ((Ascii (false, true, false, false, true,
-    false, true, false)), (String ((Ascii (true, false, true, false, false,
-    true, true, false)), (String ((Ascii (false, false, true, false, true,
-    true, true, false)), (String ((Ascii (true, false, true, false, true,
-    true, true, false)), (String ((Ascii (false, true, false, false, true,
-    true, true, false)), (String ((Ascii (false, true, true, true, false,
-    true, true, false)), (String ((Ascii (false, true, false, false, true,
-    false, true, false)), (String ((Ascii (true, false, true, false, false,
-    true, true, false)), (String ((Ascii (true, false, false, false, false,
-    true, true, false)), (String ((Ascii (true, true, false, false, true,
-    true, true, false)), (String ((Ascii (true, true, true, true, false,
-    true, true, false)), (String ((Ascii (false, true, true, true, false,
-    true, true, false)), (String ((Ascii (true, true, false, false, false,
-    false, true, false)), (String ((Ascii (true, true, true, true, false,
-    true, true, false)), (String ((Ascii (false, false, true, false, false,
-    true, true, false)), (String ((Ascii (true, false, true, false, false,
-    true, true, false)), EmptyString)))))))))))))))))))))))))))))))), (S (S
-    O)))) :: ((SStr ((String ((Ascii (false, false, true, false, false,
-    false, true, false)), (String ((Ascii (true, false, false, true, false,
-    true, true, false)), (String ((Ascii (true, true, false, false, true,
-    true, true, false)), (String ((Ascii (false, false, false, true, false,
-    true, true, false)), (String ((Ascii (true, true, true, true, false,
-    true, true, false)), (String ((Ascii (false, true, true, true, false,
-    true, true, false)), (String ((Ascii (true, true, true, true, false,
-    true, true, false)), (String ((Ascii (false, true, false, false, true,
-    true, true, false)), (String ((Ascii (true, false, true, false, false,
-    true, true, false)), (String ((Ascii (false, false, true, false, false,
-    true, true, false)), (String ((Ascii (false, true, false, false, true,
-    false, true, false)), (String ((Ascii (true, false, true, false, false,
-    true, true, false)), (String ((Ascii (false, false, true, false, true,
-    true, true, false)), (String ((Ascii (true, false, true, false, true,
-    true, true, false)), (String ((Ascii (false, true, false, false, true,
-    true, true, false)), (String ((Ascii (false, true, true, true, false,
-    true, true, false)), (String ((Ascii (false, false, true, false, true,
-    false, true, false)), (String ((Ascii (false, true, false, false, true,
-    true, true, false)), (String ((Ascii (true, false, false, false, false,
-    true, true, false)), (String ((Ascii (true, true, false, false, false,
-    true, true, false)), (String ((Ascii (true, false, true, false, false,
-    true, true, false)), (String ((Ascii (false, true, true, true, false,
-    false, true, false)), (String ((Ascii (true, false, true, false, true,
-    true, true, false)), (String ((Ascii (true, false, true, true, false,
-    true, true, false)), (String ((Ascii (false, true, false, false, false,
-    true, true, false)), (String ((Ascii (true, false, true, false, false,
-    true, true, false)), (String ((Ascii (false, true, false, false, true,
-    true, true, false)),
-    EmptyString)))))))))))))))))))))))))))))))))))))))))))))))))))))), (S (S
-    (S (S (S (S (S (S (S (S (S (S (S (S (S O))))))))))))))))) :: ((SStr
-    ((String ((Ascii (false, false, true, false, false, false, true, false)),
-    (String ((Ascii (true, false, false, true, false, true, true, false)),
-    (String ((Ascii (true, true, false, false, true, true, true, false)),
-    (String ((Ascii (false, false, false, true, false, true, true, false)),
-    (String ((Ascii (true, true, true, true, false, true, true, false)),
-    (String ((Ascii (false, true, true, true, false, true, true, false)),
-    (String ((Ascii (true, true, true, true, false, true, true, false)),
-    (String ((Ascii (false, true, false, false, true, true, true, false)),
-    (String ((Ascii (true, false, true, false, false, true, true, false)),
-    (String ((Ascii (false, false, true, false, false, true, true, false)),
-    (String ((Ascii (false, true, false, false, true, false, true, false)),
-    (String ((Ascii (true, false, true, false, false, true, true, false)),
-    (String ((Ascii (false, false, true, false, true, true, true, false)),
-    (String ((Ascii (true, false, true, false, true, true, true, false)),
-    (String ((Ascii (false, true, false, false, true, true, true, false)),
-    (String ((Ascii (false, true, true, true, false, true, true, false)),
-    (String ((Ascii (true, true, false, false, true, false, true, false)),
-    (String ((Ascii (true, false, true, false, false, true, true, false)),
-    (String ((Ascii (false, false, true, false, true, true, true, false)),
-    (String ((Ascii (false, false, true, false, true, true, true, false)),
-    (String ((Ascii (false, false, true, true, false, true, true, false)),
-    (String ((Ascii (true, false, true, false, false, true, true, false)),
-    (String ((Ascii (true, false, true, true, false, true, true, false)),
-    (String ((Ascii (true, false, true, false, false, true, true, false)),
-    (String ((Ascii (false, true, true, true, false, true, true, false)),
-    (String ((Ascii (false, false, true, false, true, true, true, false)),
-    (String ((Ascii (false, false, true, false, false, false, true, false)),
-    (String ((Ascii (true, false, false, false, false, true, true, false)),
-    (String ((Ascii (false, false, true, false, true, true, true, false)),
-    (String ((Ascii (true, false, true, false, false, true, true, false)),
-    EmptyString)))))))))))))))))))))))))))))))))))))))))))))))))))))))))))),
-    (S (S (S O))))) :: ((SStr ((String ((Ascii (false, false, true, false,
-    false, false, true, false)), (String ((Ascii (true, false, false, true,
-    false, true, true, false)), (String ((Ascii (true, true, false, false,
-    true, true, true, false)), (String ((Ascii (false, false, false, true,
-    false, true, true, false)), (String ((Ascii (true, true, true, true,
-    false, true, true, false)), (String ((Ascii (false, true, true, true,
-    false, true, true, false)), (String ((Ascii (true, true, true, true,
-    false, true, true, false)), (String ((Ascii (false, true, false, false,
-    true, true, true, false)), (String ((Ascii (true, false, true, false,
-    false, true, true, false)), (String ((Ascii (false, false, true, false,
-    false, true, true, false)), (String ((Ascii (false, true, false, false,
-    true, false, true, false)), (String ((Ascii (true, false, true, false,
-    false, true, true, false)), (String ((Ascii (false, false, true, false,
-    true, true, true, false)), (String ((Ascii (true, false, true, false,
-    true, true, true, false)), (String ((Ascii (false, true, false, false,
-    true, true, true, false)), (String ((Ascii (false, true, true, true,
-    false, true, true, false)), (String ((Ascii (false, true, false, false,
-    true, false, true, false)), (String ((Ascii (true, false, true, false,
-    false, true, true, false)), (String ((Ascii (true, false, false, false,
-    false, true, true, false)), (String ((Ascii (true, true, false, false,
-    true, true, true, false)), (String ((Ascii (true, true, true, true,
-    false, true, true, false)), (String ((Ascii (false, true, true, true,
-    false, true, true, false)), (String ((Ascii (true, true, false, false,
-    false, false, true, false)), (String ((Ascii (true, true, true, true,
-    false, true, true, false)), (String ((Ascii (false, false, true, false,
-    false, true, true, false)), (String ((Ascii (true, false, true, false,
-    false, true, true, false)),
-    EmptyString)))))))))))))))))))))))))))))))))))))))))))))))))))), (S (S
-    O)))) :: ((SLit ((Npos (XO (XO (XO (XO (XO XH)))))) :: [])) :: ((SStr
-    ((String ((Ascii (false, false, true, false, true, false, true, false)),
-    (String ((Ascii (false, true, false, false, true, true, true, false)),
-    (String ((Ascii (true, false, false, false, false, true, true, false)),
-    (String ((Ascii (true, true, false, false, false, true, true, false)),
-    (String ((Ascii (true, false, true, false, false, true, true, false)),
-    (String ((Ascii (false, true, true, true, false, false, true, false)),
-    (String ((Ascii (true, false, true, false, true, true, true, false)),
-    (String ((Ascii (true, false, true, true, false, true, true, false)),
-    (String ((Ascii (false, true, false, false, false, true, true, false)),
-    (String ((Ascii (true, false, true, false, false, true, true, false)),
-    (String ((Ascii (false, true, false, false, true, true, true, false)),
-    EmptyString)))))))))))))))))))))), (S (S (S (S (S (S (S (S (S (S (S (S (S
-    (S (S O))))))))))))))))) :: []))))))))))))))); l_cuts =
-    ((mkcut O (S O) EmptyString []) :: ((mkcut (S O) (S (S (S O))) (String
-                                          ((Ascii (false, false, true, false,
-                                          true, false, true, false)), (String
-                                          ((Ascii (true, false, false, true,
-                                          true, true, true, false)), (String
-                                          ((Ascii (false, false, false,
-                                          false, true, true, true, false)),
-                                          (String ((Ascii (true, false, true,
-                                          false, false, true, true, false)),
-                                          (String ((Ascii (true, true, false,
-                                          false, false, false, true, false)),
-                                          (String ((Ascii (true, true, true,
-                                          true, false, true, true, false)),
-                                          (String ((Ascii (false, false,
-                                          true, false, false, true, true,
-                                          false)), (String ((Ascii (true,
-                                          false, true, false, false, true,
-                                          true, false)),
-                                          EmptyString)))))))))))))))) []) :: (
-    (mkcut (S (S (S O))) (S (S (S (S (S (S O)))))) (String ((Ascii (true,
-      true, false, false, false, false, true, false)), (String ((Ascii (true,
-      true, true, true, false, true, true, false)), (String ((Ascii (false,
-      true, true, true, false, true, true, false)), (String ((Ascii (false,
-      false, true, false, true, true, true, false)), (String ((Ascii (true,
-      false, true, false, false, true, true, false)), (String ((Ascii (true,
-      true, false, false, true, true, true, false)), (String ((Ascii (false,
-      false, true, false, true, true, true, false)), (String ((Ascii (true,
-      false, true, false, false, true, true, false)), (String ((Ascii (false,
-      false, true, false, false, true, true, false)), (String ((Ascii (false,
-      true, false, false, true, false, true, false)), (String ((Ascii (true,
-      false, true, false, false, true, true, false)), (String ((Ascii (false,
-      false, true, false, true, true, true, false)), (String ((Ascii (true,
-      false, true, false, true, true, true, false)), (String ((Ascii (false,
-      true, false, false, true, true, true, false)), (String ((Ascii (false,
-      true, true, true, false, true, true, false)), (String ((Ascii (true,
-      true, false, false, false, false, true, false)), (String ((Ascii (true,
-      true, true, true, false, true, true, false)), (String ((Ascii (false,
-      false, true, false, false, true, true, false)), (String ((Ascii (true,
-      false, true, false, false, true, true, false)),
-      EmptyString)))))))))))))))))))))))))))))))))))))) []) :: ((mkcut (S (S
-                                                                  (S (S (S (S
-                                                                  O)))))) (S
-                                                                  (S (S (S (S
-                                                                  (S (S (S (S
-                                                                  (S (S (S (S
-                                                                  (S (S (S (S
-                                                                  (S (S (S (S
-                                                                  O)))))))))))))))))))))
-                                                                  (String
-                                                                  ((Ascii
-                                                                  (true,
-                                                                  true, true,
-                                                                  true,
-                                                                  false,
-                                                                  false,
-                                                                  true,
-                                                                  false)),
-                                                                  (String
-                                                                  ((Ascii
-                                                                  (false,
-                                                                  true,
-                                                                  false,
-                                                                  false,
-                                                                  true, true,
-                                                                  true,
-                                                                  false)),
-                                                                  (String
-                                                                  ((Ascii
-                                                                  (true,
-                                                                  false,
-                                                                  false,
-                                                                  true,
-                                                                  false,
-                                                                  true, true,
-                                                                  false)),
-                                                                  (String
-                                                                  ((Ascii
-                                                                  (true,
-                                                                  true, true,
-                                                                  false,
-                                                                  false,
-                                                                  true, true,
-                                                                  false)),
-                                                                  (String
-                                                                  ((Ascii
-                                                                  (true,
-                                                                  false,
-                                                                  false,
-                                                                  true,
-                                                                  false,
-                                                                  true, true,
-                                                                  false)),
-                                                                  (String
-                                                                  ((Ascii
-                                                                  (false,
-                                                                  true, true,
-                                                                  true,
-                                                                  false,
-                                                                  true, true,
-                                                                  false)),
-                                                                  (String
-                                                                  ((Ascii
-                                                                  (true,
-                                                                  false,
-                                                                  false,
-                                                                  false,
-                                                                  false,
-                                                                  true, true,
-                                                                  false)),
-                                                                  (String
-                                                                  ((Ascii
-                                                                  (false,
-                                                                  false,
-                                                                  true, true,
-                                                                  false,
-                                                                  true, true,
-                                                                  false)),
-                                                                  (String
-                                                                  ((Ascii
-                                                                  (true,
-                                                                  false,
-                                                                  true,
-                                                                  false,
-                                                                  false,
-                                                                  false,
-                                                                  true,
-                                                                  false)),
-                                                                  (String
-                                                                  ((Ascii
-                                                                  (false,
-                                                                  true, true,
-                                                                  true,
-                                                                  false,
-                                                                  true, true,
-                                                                  false)),
-                                                                  (String
-                                                                  ((Ascii
-                                                                  (false,
-                                                                  false,
-                                                                  true,
-                                                                  false,
-                                                                  true, true,
-                                                                  true,
-                                                                  false)),
-                                                                  (String
-                                                                  ((Ascii
-                                                                  (false,
-                                                                  true,
-                                                                  false,
-                                                                  false,
-                                                                  true, true,
-                                                                  true,
-                                                                  false)),
-                                                                  (String
-                                                                  ((Ascii
-                                                                  (true,
-                                                                  false,
-                                                                  false,
-                                                                  true, true,
-                                                                  true, true,
-                                                                  false)),
-                                                                  (String
-                                                                  ((Ascii
-                                                                  (false,
-                                                                  false,
-                                                                  true,
-                                                                  false,
-                                                                  true,
-                                                                  false,
-                                                                  true,
-                                                                  false)),
-                                                                  (String
-                                                                  ((Ascii
-                                                                  (false,
-                                                                  true,
-                                                                  false,
-                                                                  false,
-                                                                  true, true,
-                                                                  true,
-                                                                  false)),
-                                                                  (String
-                                                                  ((Ascii
-                                                                  (true,
-                                                                  false,
-                                                                  false,
-                                                                  false,
-                                                                  false,
-                                                                  true, true,
-                                                                  false)),
-                                                                  (String
-                                                                  ((Ascii
-                                                                  (true,
-                                                                  true,
-                                                                  false,
-                                                                  false,
-                                                                  false,
-                                                                  true, true,
-                                                                  false)),
-                                                                  (String
-                                                                  ((Ascii
-                                                                  (true,
-                                                                  false,
-                                                                  true,
-                                                                  false,
-                                                                  false,
-                                                                  true, true,
-                                                                  false)),
-                                                                  (String
-                                                                  ((Ascii
-                                                                  (false,
-                                                                  true, true,
-                                                                  true,
-                                                                  false,
-                                                                  false,
-                                                                  true,
-                                                                  false)),
-                                                                  (String
-                                                                  ((Ascii
-                                                                  (true,
-                                                                  false,
-                                                                  true,
-                                                                  false,
-                                                                  true, true,
-                                                                  true,
-                                                                  false)),
-                                                                  (String
-                                                                  ((Ascii
-                                                                  (true,
-                                                                  false,
-                                                                  true, true,
-                                                                  false,
-                                                                  true, true,
-                                                                  false)),
-                                                                  (String
-                                                                  ((Ascii
-                                                                  (false,
-                                                                  true,
-                                                                  false,
-                                                                  false,
-                                                                  false,
-                                                                  true, true,
-                                                                  false)),
-                                                                  (String
-                                                                  ((Ascii
-                                                                  (true,
-                                                                  false,
-                                                                  true,
-                                                                  false,
-                                                                  false,
-                                                                  true, true,
-                                                                  false)),
-                                                                  (String
-                                                                  ((Ascii
-                                                                  (false,
-                                                                  true,
-                                                                  false,
-                                                                  false,
-                                                                  true, true,
-                                                                  true,
-                                                                  false)),
-                                                                  EmptyString))))))))))))))))))))))))))))))))))))))))))))))))
-                                                                  []) :: (
-    (mkcut (S (S (S (S (S (S (S (S (S (S (S (S (S (S (S (S (S (S (S (S (S
-      O))))))))))))))))))))) (S (S (S (S (S (S (S (S (S (S (S (S (S (S (S (S
-      (S (S (S (S (S (S (S (S (S (S (S O))))))))))))))))))))))))))) (String
-      ((Ascii (false, false, true, false, false, false, true, false)),
-      (String ((Ascii (true, false, false, false, false, true, true, false)),
-      (String ((Ascii (false, false, true, false, true, true, true, false)),
-      (String ((Ascii (true, false, true, false, false, true, true, false)),
-      (String ((Ascii (true, true, true, true, false, false, true, false)),
-      (String ((Ascii (false, true, false, false, true, true, true, false)),
-      (String ((Ascii (true, false, false, true, false, true, true, false)),
-      (String ((Ascii (true, true, true, false, false, true, true, false)),
-      (String ((Ascii (true, false, false, true, false, true, true, false)),
-      (String ((Ascii (false, true, true, true, false, true, true, false)),
-      (String ((Ascii (true, false, false, false, false, true, true, false)),
-      (String ((Ascii (false, false, true, true, false, true, true, false)),
-      (String ((Ascii (true, false, true, false, false, false, true, false)),
-      (String ((Ascii (false, true, true, true, false, true, true, false)),
-      (String ((Ascii (false, false, true, false, true, true, true, false)),
-      (String ((Ascii (false, true, false, false, true, true, true, false)),
-      (String ((Ascii (true, false, false, true, true, true, true, false)),
-      (String ((Ascii (false, true, false, false, true, false, true, false)),
-      (String ((Ascii (true, false, true, false, false, true, true, false)),
-      (String ((Ascii (false, false, true, false, true, true, true, false)),
-      (String ((Ascii (true, false, true, false, true, true, true, false)),
-      (String ((Ascii (false, true, false, false, true, true, true, false)),
-      (String ((Ascii (false, true, true, true, false, true, true, false)),
-      (String ((Ascii (true, false, true, false, false, true, true, false)),
-      (String ((Ascii (false, false, true, false, false, true, true, false)),
-      EmptyString)))))))))))))))))))))))))))))))))))))))))))))))))) []) :: (
-    (mkcut (S (S (S (S (S (S (S (S (S (S (S (S (S (S (S (S (S (S (S (S (S (S
-      (S (S (S (S (S O))))))))))))))))))))))))))) (S (S (S (S (S (S (S (S (S
-      (S (S (S (S (S (S (S (S (S (S (S (S (S (S (S (S (S (S (S (S (S (S (S (S
-      (S (S O))))))))))))))))))))))))))))))))))) (String ((Ascii (true, true,
-      true, true, false, false, true, false)), (String ((Ascii (false, true,
-      false, false, true, true, true, false)), (String ((Ascii (true, false,
-      false, true, false, true, true, false)), (String ((Ascii (true, true,
-      true, false, false, true, true, false)), (String ((Ascii (true, false,
-      false, true, false, true, true, false)), (String ((Ascii (false, true,
-      true, true, false, true, true, false)), (String ((Ascii (true, false,
-      false, false, false, true, true, false)), (String ((Ascii (false,
-      false, true, true, false, true, true, false)), (String ((Ascii (false,
-      true, false, false, true, false, true, false)), (String ((Ascii (true,
-      false, true, false, false, true, true, false)), (String ((Ascii (true,
-      true, false, false, false, true, true, false)), (String ((Ascii (true,
-      false, true, false, false, true, true, false)), (String ((Ascii (true,
-      false, false, true, false, true, true, false)), (String ((Ascii (false,
-      true, true, false, true, true, true, false)), (String ((Ascii (true,
-      false, false, true, false, true, true, false)), (String ((Ascii (false,
-      true, true, true, false, true, true, false)), (String ((Ascii (true,
-      true, true, false, false, true, true, false)), (String ((Ascii (false,
-      false, true, false, false, false, true, false)), (String ((Ascii
-      (false, true, true, false, false, false, true, false)), (String ((Ascii
-      (true, false, false, true, false, false, true, false)), (String ((Ascii
-      (true, false, false, true, false, false, true, false)), (String ((Ascii
-      (false, false, true, false, false, true, true, false)), (String ((Ascii
-      (true, false, true, false, false, true, true, false)), (String ((Ascii
-      (false, true, true, true, false, true, true, false)), (String ((Ascii
-      (false, false, true, false, true, true, true, false)), (String ((Ascii
-      (true, false, false, true, false, true, true, false)), (String ((Ascii
-      (false, true, true, false, false, true, true, false)), (String ((Ascii
-      (true, false, false, true, false, true, true, false)), (String ((Ascii
-      (true, true, false, false, false, true, true, false)), (String ((Ascii
-      (true, false, false, false, false, true, true, false)), (String ((Ascii
-      (false, false, true, false, true, true, true, false)), (String ((Ascii
-      (true, false, false, true, false, true, true, false)), (String ((Ascii
-      (true, true, true, true, false, true, true, false)), (String ((Ascii
-      (false, true, true, true, false, true, true, false)),
-      EmptyString))))))))))))))))))))))))))))))))))))))))))))))))))))))))))))))))))))
-      []) :: ((mkcut (S (S (S (S (S (S (S (S (S (S (S (S (S (S (S (S (S (S (S
-                (S (S (S (S (S (S (S (S (S (S (S (S (S (S (S (S
-                O))))))))))))))))))))))))))))))))))) (S (S (S (S (S (S (S (S
-                (S (S (S (S (S (S (S (S (S (S (S (S (S (S (S (S (S (S (S (S
-                (S (S (S (S (S (S (S (S (S (S
-                O)))))))))))))))))))))))))))))))))))))) (String ((Ascii
-                (true, true, true, true, false, false, true, false)), (String
-                ((Ascii (false, true, false, false, true, true, true,
-                false)), (String ((Ascii (true, false, false, true, false,
-                true, true, false)), (String ((Ascii (true, true, true,
-                false, false, true, true, false)), (String ((Ascii (true,
-                false, false, true, false, true, true, false)), (String
-                ((Ascii (false, true, true, true, false, true, true, false)),
-                (String ((Ascii (true, false, false, false, false, true,
-                true, false)), (String ((Ascii (false, false, true, true,
-                false, true, true, false)), (String ((Ascii (true, true,
-                false, false, true, false, true, false)), (String ((Ascii
-                (true, false, true, false, false, true, true, false)),
-                (String ((Ascii (false, false, true, false, true, true, true,
-                false)), (String ((Ascii (false, false, true, false, true,
-                true, true, false)), (String ((Ascii (false, false, true,
-                true, false, true, true, false)), (String ((Ascii (true,
-                false, true, false, false, true, true, false)), (String
-                ((Ascii (true, false, true, true, false, true, true, false)),
-                (String ((Ascii (true, false, true, false, false, true, true,
-                false)), (String ((Ascii (false, true, true, true, false,
-                true, true, false)), (String ((Ascii (false, false, true,
-                false, true, true, true, false)), (String ((Ascii (false,
-                false, true, false, false, false, true, false)), (String
-                ((Ascii (true, false, false, false, false, true, true,
-                false)), (String ((Ascii (false, false, true, false, true,
-                true, true, false)), (String ((Ascii (true, false, true,
-                false, false, true, true, false)),
-                EmptyString)))))))))))))))))))))))))))))))))))))))))))) []) :: (
-    (mkcut (S (S (S (S (S (S (S (S (S (S (S (S (S (S (S (S (S (S (S (S (S (S
-      (S (S (S (S (S (S (S (S (S (S (S (S (S (S (S (S
-      O)))))))))))))))))))))))))))))))))))))) (S (S (S (S (S (S (S (S (S (S
-      (S (S (S (S (S (S (S (S (S (S (S (S (S (S (S (S (S (S (S (S (S (S (S (S
-      (S (S (S (S (S (S (S (S (S (S (S (S (S (S (S (S (S (S (S
-      O))))))))))))))))))))))))))))))))))))))))))))))))))))) (String ((Ascii
-      (false, true, false, false, true, false, true, false)), (String ((Ascii
-      (true, false, true, false, false, true, true, false)), (String ((Ascii
-      (false, false, true, false, true, true, true, false)), (String ((Ascii
-      (true, false, true, false, true, true, true, false)), (String ((Ascii
-      (false, true, false, false, true, true, true, false)), (String ((Ascii
-      (false, true, true, true, false, true, true, false)), (String ((Ascii
-      (false, false, true, false, true, false, true, false)), (String ((Ascii
-      (false, true, false, false, true, true, true, false)), (String ((Ascii
-      (true, false, false, false, false, true, true, false)), (String ((Ascii
-      (true, true, false, false, false, true, true, false)), (String ((Ascii
-      (true, false, true, false, false, true, true, false)), (String ((Ascii
-      (false, true, true, true, false, false, true, false)), (String ((Ascii
-      (true, false, true, false, true, true, true, false)), (String ((Ascii
-      (true, false, true, true, false, true, true, false)), (String ((Ascii
-      (false, true, false, false, false, true, true, false)), (String ((Ascii
-      (true, false, true, false, false, true, true, false)), (String ((Ascii
-      (false, true, false, false, true, true, true, false)),
-      EmptyString)))))))))))))))))))))))))))))))))) []) :: ((mkcut (S (S (S
-                                                              (S (S (S (S (S
-                                                              (S (S (S (S (S
-                                                              (S (S (S (S (S
-                                                              (S (S (S (S (S
-                                                              (S (S (S (S (S
-                                                              (S (S (S (S (S
-                                                              (S (S (S (S (S
-                                                              (S (S (S (S (S
-                                                              (S (S (S (S (S
-                                                              (S (S (S (S (S
-                                                              O)))))))))))))))))))))))))))))))))))))))))))))))))))))
-                                                              (S (S (S (S (S
-                                                              (S (S (S (S (S
-                                                              (S (S (S (S (S
-                                                              (S (S (S (S (S
-                                                              (S (S (S (S (S
-                                                              (S (S (S (S (S
-                                                              (S (S (S (S (S
-                                                              (S (S (S (S (S
-                                                              (S (S (S (S (S
-                                                              (S (S (S (S (S
-                                                              (S (S (S (S (S
-                                                              (S
-                                                              O))))))))))))))))))))))))))))))))))))))))))))))))))))))))
-                                                              (String ((Ascii
-                                                              (false, true,
-                                                              false, false,
-                                                              true, false,
-                                                              true, false)),
-                                                              (String ((Ascii
-                                                              (true, false,
-                                                              true, false,
-                                                              false, true,
-                                                              true, false)),
-                                                              (String ((Ascii
-                                                              (false, false,
-                                                              true, false,
-                                                              true, true,
-                                                              true, false)),
-                                                              (String ((Ascii
-                                                              (true, false,
-                                                              true, false,
-                                                              true, true,
-                                                              true, false)),
-                                                              (String ((Ascii
-                                                              (false, true,
-                                                              false, false,
-                                                              true, true,
-                                                              true, false)),
-                                                              (String ((Ascii
-                                                              (false, true,
-                                                              true, true,
-                                                              false, true,
-                                                              true, false)),
-                                                              (String ((Ascii
-                                                              (true, true,
-                                                              false, false,
-                                                              true, false,
-                                                              true, false)),
-                                                              (String ((Ascii
-                                                              (true, false,
-                                                              true, false,
-                                                              false, true,
-                                                              true, false)),
-                                                              (String ((Ascii
-                                                              (false, false,
-                                                              true, false,
-                                                              true, true,
-                                                              true, false)),
-                                                              (String ((Ascii
-                                                              (false, false,
-                                                              true, false,
-                                                              true, true,
-                                                              true, false)),
-                                                              (String ((Ascii
-                                                              (false, false,
-                                                              true, true,
-                                                              false, true,
-                                                              true, false)),
-                                                              (String ((Ascii
-                                                              (true, false,
-                                                              true, false,
-                                                              false, true,
-                                                              true, false)),
-                                                              (String ((Ascii
-                                                              (true, false,
-                                                              true, true,
-                                                              false, true,
-                                                              true, false)),
-                                                              (String ((Ascii
-                                                              (true, false,
-                                                              true, false,
-                                                              false, true,
-                                                              true, false)),
-                                                              (String ((Ascii
-                                                              (false, true,
-                                                              true, true,
-                                                              false, true,
-                                                              true, false)),
-                                                              (String ((Ascii
-                                                              (false, false,
-                                                              true, false,
-                                                              true, true,
-                                                              true, false)),
-                                                              (String ((Ascii
-                                                              (false, false,
-                                                              true, false,
-                                                              false, false,
-                                                              true, false)),
-                                                              (String ((Ascii
-                                                              (true, false,
-                                                              false, false,
-                                                              false, true,
-                                                              true, false)),
-                                                              (String ((Ascii
-                                                              (false, false,
-                                                              true, false,
-                                                              true, true,
-                                                              true, false)),
-                                                              (String ((Ascii
-                                                              (true, false,
-                                                              true, false,
-                                                              false, true,
-                                                              true, false)),
-                                                              EmptyString))))))))))))))))))))))))))))))))))))))))
-                                                              []) :: (
-    (mkcut (S (S (S (S (S (S (S (S (S (S (S (S (S (S (S (S (S (S (S (S (S (S
-      (S (S (S (S (S (S (S (S (S (S (S (S (S (S (S (S (S (S (S (S (S (S (S (S
-      (S (S (S (S (S (S (S (S (S (S
-      O)))))))))))))))))))))))))))))))))))))))))))))))))))))))) (S (S (S (S
-      (S (S (S (S (S (S (S (S (S (S (S (S (S (S (S (S (S (S (S (S (S (S (S (S
-      (S (S (S (S (S (S (S (S (S (S (S (S (S (S (S (S (S (S (S (S (S (S (S (S
-      (S (S (S (S (S (S
-      O)))))))))))))))))))))))))))))))))))))))))))))))))))))))))) (String
-      ((Ascii (false, true, false, false, true, false, true, false)), (String
-      ((Ascii (true, false, true, false, false, true, true, false)), (String
-      ((Ascii (false, false, true, false, true, true, true, false)), (String
-      ((Ascii (true, false, true, false, true, true, true, false)), (String
-      ((Ascii (false, true, false, false, true, true, true, false)), (String
-      ((Ascii (false, true, true, true, false, true, true, false)), (String
-      ((Ascii (false, true, false, false, true, false, true, false)), (String
-      ((Ascii (true, false, true, false, false, true, true, false)), (String
-      ((Ascii (true, false, false, false, false, true, true, false)), (String
-      ((Ascii (true, true, false, false, true, true, true, false)), (String
-      ((Ascii (true, true, true, true, false, true, true, false)), (String
-      ((Ascii (false, true, true, true, false, true, true, false)), (String
-      ((Ascii (true, true, false, false, false, false, true, false)), (String
-      ((Ascii (true, true, true, true, false, true, true, false)), (String
-      ((Ascii (false, false, true, false, false, true, true, false)), (String
-      ((Ascii (true, false, true, false, false, true, true, false)),
-      EmptyString)))))))))))))))))))))))))))))))) []) :: ((mkcut (S (S (S (S
-                                                            (S (S (S (S (S (S
-                                                            (S (S (S (S (S (S
-                                                            (S (S (S (S (S (S
-                                                            (S (S (S (S (S (S
-                                                            (S (S (S (S (S (S
-                                                            (S (S (S (S (S (S
-                                                            (S (S (S (S (S (S
-                                                            (S (S (S (S (S (S
-                                                            (S (S (S (S (S (S
-                                                            O))))))))))))))))))))))))))))))))))))))))))))))))))))))))))
-                                                            (S (S (S (S (S (S
-                                                            (S (S (S (S (S (S
-                                                            (S (S (S (S (S (S
-                                                            (S (S (S (S (S (S
-                                                            (S (S (S (S (S (S
-                                                            (S (S (S (S (S (S
-                                                            (S (S (S (S (S (S
-                                                            (S (S (S (S (S (S
-                                                            (S (S (S (S (S (S
-                                                            (S (S (S (S (S (S
-                                                            (S (S (S (S (S (S
-                                                            (S (S (S (S (S (S
-                                                            (S
-                                                            O)))))))))))))))))))))))))))))))))))))))))))))))))))))))))))))))))))))))))
-                                                            (String ((Ascii
-                                                            (false, false,
-                                                            true, false,
-                                                            false, false,
-                                                            true, false)),
-                                                            (String ((Ascii
-                                                            (true, false,
-                                                            false, true,
-                                                            false, true,
-                                                            true, false)),
-                                                            (String ((Ascii
-                                                            (true, true,
-                                                            false, false,
-                                                            true, true, true,
-                                                            false)), (String
-                                                            ((Ascii (false,
-                                                            false, false,
-                                                            true, false,
-                                                            true, true,
-                                                            false)), (String
-                                                            ((Ascii (true,
-                                                            true, true, true,
-                                                            false, true,
-                                                            true, false)),
-                                                            (String ((Ascii
-                                                            (false, true,
-                                                            true, true,
-                                                            false, true,
-                                                            true, false)),
-                                                            (String ((Ascii
-                                                            (true, true,
-                                                            true, true,
-                                                            false, true,
-                                                            true, false)),
-                                                            (String ((Ascii
-                                                            (false, true,
-                                                            false, false,
-                                                            true, true, true,
-                                                            false)), (String
-                                                            ((Ascii (true,
-                                                            false, true,
-                                                            false, false,
-                                                            true, true,
-                                                            false)), (String
-                                                            ((Ascii (false,
-                                                            false, true,
-                                                            false, false,
-                                                            true, true,
-                                                            false)), (String
-                                                            ((Ascii (false,
-                                                            true, false,
-                                                            false, true,
-                                                            false, true,
-                                                            false)), (String
-                                                            ((Ascii (true,
-                                                            false, true,
-                                                            false, false,
-                                                            true, true,
-                                                            false)), (String
-                                                            ((Ascii (false,
-                                                            false, true,
-                                                            false, true,
-                                                            true, true,
-                                                            false)), (String
-                                                            ((Ascii (true,
-                                                            false, true,
-                                                            false, true,
-                                                            true, true,
-                                                            false)), (String
-                                                            ((Ascii (false,
-                                                            true, false,
-                                                            false, true,
-                                                            true, true,
-                                                            false)), (String
-                                                            ((Ascii (false,
-                                                            true, true, true,
-                                                            false, true,
-                                                            true, false)),
-                                                            (String ((Ascii
-                                                            (false, false,
-                                                            true, false,
-                                                            true, false,
-                                                            true, false)),
-                                                            (String ((Ascii
-                                                            (false, true,
-                                                            false, false,
-                                                            true, true, true,
-                                                            false)), (String
-                                                            ((Ascii (true,
-                                                            false, false,
-                                                            false, false,
-                                                            true, true,
-                                                            false)), (String
-                                                            ((Ascii (true,
-                                                            true, false,
-                                                            false, false,
-                                                            true, true,
-                                                            false)), (String
-                                                            ((Ascii (true,
-                                                            false, true,
-                                                            false, false,
-                                                            true, true,
-                                                            false)), (String
-                                                            ((Ascii (false,
-                                                            true, true, true,
-                                                            false, false,
-                                                            true, false)),
-                                                            (String ((Ascii
-                                                            (true, false,
-                                                            true, false,
-                                                            true, true, true,
-                                                            false)), (String
-                                                            ((Ascii (true,
-                                                            false, true,
-                                                            true, false,
-                                                            true, true,
-                                                            false)), (String
-                                                            ((Ascii (false,
-                                                            true, false,
-                                                            false, false,
-                                                            true, true,
-                                                            false)), (String
-                                                            ((Ascii (true,
-                                                            false, true,
-                                                            false, false,
-                                                            true, true,
-                                                            false)), (String
-                                                            ((Ascii (false,
-                                                            true, false,
-                                                            false, true,
-                                                            true, true,
-                                                            false)),
-                                                            EmptyString))))))))))))))))))))))))))))))))))))))))))))))))))))))
-                                                            []) :: ((mkcut (S
-                                                                    (S (S (S
-                                                                    (S (S (S
-                                                                    (S (S (S
-                                                                    (S (S (S
-                                                                    (S (S (S
-                                                                    (S (S (S
-                                                                    (S (S (S
-                                                                    (S (S (S
-                                                                    (S (S (S
-                                                                    (S (S (S
-                                                                    (S (S (S
-                                                                    (S (S (S
-                                                                    (S (S (S
-                                                                    (S (S (S
-                                                                    (S (S (S
-                                                                    (S (S (S
-                                                                    (S (S (S
-                                                                    (S (S (S
-                                                                    (S (S (S
-                                                                    (S (S (S
-                                                                    (S (S (S
-                                                                    (S (S (S
-                                                                    (S (S (S
-                                                                    (S (S (S
-                                                                    O)))))))))))))))))))))))))))))))))))))))))))))))))))))))))))))))))))))))))
-                                                                    (S (S (S
-                                                                    (S (S (S
-                                                                    (S (S (S
-                                                                    (S (S (S
-                                                                    (S (S (S
-                                                                    (S (S (S
-                                                                    (S (S (S
-                                                                    (S (S (S
-                                                                    (S (S (S
-                                                                    (S (S (S
-                                                                    (S (S (S
-                                                                    (S (S (S
-                                                                    (S (S (S
-                                                                    (S (S (S
-                                                                    (S (S (S
-                                                                    (S (S (S
-                                                                    (S (S (S
-                                                                    (S (S (S
-                                                                    (S (S (S
-                                                                    (S (S (S
-                                                                    (S (S (S
-                                                                    (S (S (S
-                                                                    (S (S (S
-                                                                    (S (S (S
-                                                                    (S (S (S
-                                                                    (S
-                                                                    O))))))))))))))))))))))))))))))))))))))))))))))))))))))))))))))))))))))))))))
-                                                                    (String
-                                                                    ((Ascii
-                                                                    (false,
-                                                                    false,
-                                                                    true,
-                                                                    false,
-                                                                    false,
-                                                                    false,
-                                                                    true,
-                                                                    false)),
-                                                                    (String
-                                                                    ((Ascii
-                                                                    (true,
-                                                                    false,
-                                                                    false,
-                                                                    true,
-                                                                    false,
-                                                                    true,
-                                                                    true,
-                                                                    false)),
-                                                                    (String
-                                                                    ((Ascii
-                                                                    (true,
-                                                                    true,
-                                                                    false,
-                                                                    false,
-                                                                    true,
-                                                                    true,
-                                                                    true,
-                                                                    false)),
-                                                                    (String
-                                                                    ((Ascii
-                                                                    (false,
-                                                                    false,
-                                                                    false,
-                                                                    true,
-                                                                    false,
-                                                                    true,
-                                                                    true,
-                                                                    false)),
-                                                                    (String
-                                                                    ((Ascii
-                                                                    (true,
-                                                                    true,
-                                                                    true,
-                                                                    true,
-                                                                    false,
-                                                                    true,
-                                                                    true,
-                                                                    false)),
-                                                                    (String
-                                                                    ((Ascii
-                                                                    (false,
-                                                                    true,
-                                                                    true,
-                                                                    true,
-                                                                    false,
-                                                                    true,
-                                                                    true,
-                                                                    false)),
-                                                                    (String
-                                                                    ((Ascii
-                                                                    (true,
-                                                                    true,
-                                                                    true,
-                                                                    true,
-                                                                    false,
-                                                                    true,
-                                                                    true,
-                                                                    false)),
-                                                                    (String
-                                                                    ((Ascii
-                                                                    (false,
-                                                                    true,
-                                                                    false,
-                                                                    false,
-                                                                    true,
-                                                                    true,
-                                                                    true,
-                                                                    false)),
-                                                                    (String
-                                                                    ((Ascii
-                                                                    (true,
-                                                                    false,
-                                                                    true,
-                                                                    false,
-                                                                    false,
-                                                                    true,
-                                                                    true,
-                                                                    false)),
-                                                                    (String
-                                                                    ((Ascii
-                                                                    (false,
-                                                                    false,
-                                                                    true,
-                                                                    false,
-                                                                    false,
-                                                                    true,
-                                                                    true,
-                                                                    false)),
-                                                                    (String
-                                                                    ((Ascii
-                                                                    (false,
-                                                                    true,
-                                                                    false,
-                                                                    false,
-                                                                    true,
-                                                                    false,
-                                                                    true,
-                                                                    false)),
-                                                                    (String
-                                                                    ((Ascii
-                                                                    (true,
-                                                                    false,
-                                                                    true,
-                                                                    false,
-                                                                    false,
-                                                                    true,
-                                                                    true,
-                                                                    false)),
-                                                                    (String
-                                                                    ((Ascii
-                                                                    (false,
-                                                                    false,
-                                                                    true,
-                                                                    false,
-                                                                    true,
-                                                                    true,
-                                                                    true,
-                                                                    false)),
-                                                                    (String
-                                                                    ((Ascii
-                                                                    (true,
-                                                                    false,
-                                                                    true,
-                                                                    false,
-                                                                    true,
-                                                                    true,
-                                                                    true,
-                                                                    false)),
-                                                                    (String
-                                                                    ((Ascii
-                                                                    (false,
-                                                                    true,
-                                                                    false,
-                                                                    false,
-                                                                    true,
-                                                                    true,
-                                                                    true,
-                                                                    false)),
-                                                                    (String
-                                                                    ((Ascii
-                                                                    (false,
-                                                                    true,
-                                                                    true,
-                                                                    true,
-                                                                    false,
-                                                                    true,
-                                                                    true,
-                                                                    false)),
-                                                                    (String
-                                                                    ((Ascii
-                                                                    (true,
-                                                                    true,
-                                                                    false,
-                                                                    false,
-                                                                    true,
-                                                                    false,
-                                                                    true,
-                                                                    false)),
-                                                                    (String
-                                                                    ((Ascii
-                                                                    (true,
-                                                                    false,
-                                                                    true,
-                                                                    false,
-                                                                    false,
-                                                                    true,
-                                                                    true,
-                                                                    false)),
-                                                                    (String
-                                                                    ((Ascii
-                                                                    (false,
-                                                                    false,
-                                                                    true,
-                                                                    false,
-                                                                    true,
-                                                                    true,
-                                                                    true,
-                                                                    false)),
-                                                                    (String
-                                                                    ((Ascii
-                                                                    (false,
-                                                                    false,
-                                                                    true,
-                                                                    false,
-                                                                    true,
-                                                                    true,
-                                                                    true,
-                                                                    false)),
-                                                                    (String
-                                                                    ((Ascii
-                                                                    (false,
-                                                                    false,
-                                                                    true,
-                                                                    true,
-                                                                    false,
-                                                                    true,
-                                                                    true,
-                                                                    false)),
-                                                                    (String
-                                                                    ((Ascii
-                                                                    (true,
-                                                                    false,
-                                                                    true,
-                                                                    false,
-                                                                    false,
-                                                                    true,
-                                                                    true,
-                                                                    false)),
-                                                                    (String
-                                                                    ((Ascii
-                                                                    (true,
-                                                                    false,
-                                                                    true,
-                                                                    true,
-                                                                    false,
-                                                                    true,
-                                                                    true,
-                                                                    false)),
-                                                                    (String
-                                                                    ((Ascii
-                                                                    (true,
-                                                                    false,
-                                                                    true,
-                                                                    false,
-                                                                    false,
-                                                                    true,
-                                                                    true,
-                                                                    false)),
-                                                                    (String
-                                                                    ((Ascii
-                                                                    (false,
-                                                                    true,
-                                                                    true,
-                                                                    true,
-                                                                    false,
-                                                                    true,
-                                                                    true,
-                                                                    false)),
-                                                                    (String
-                                                                    ((Ascii
-                                                                    (false,
-                                                                    false,
-                                                                    true,
-                                                                    false,
-                                                                    true,
-                                                                    true,
-                                                                    true,
-                                                                    false)),
-                                                                    (String
-                                                                    ((Ascii
-                                                                    (false,
-                                                                    false,
-                                                                    true,
-                                                                    false,
-                                                                    false,
-                                                                    false,
-                                                                    true,
-                                                                    false)),
-                                                                    (String
-                                                                    ((Ascii
-                                                                    (true,
-                                                                    false,
-                                                                    false,
-                                                                    false,
-                                                                    false,
-                                                                    true,
-                                                                    true,
-                                                                    false)),
-                                                                    (String
-                                                                    ((Ascii
-                                                                    (false,
-                                                                    false,
-                                                                    true,
-                                                                    false,
-                                                                    true,
-                                                                    true,
-                                                                    true,
-                                                                    false)),
-                                                                    (String
-                                                                    ((Ascii
-                                                                    (true,
-                                                                    false,
-                                                                    true,
-                                                                    false,
-                                                                    false,
-                                                                    true,
-                                                                    true,
-                                                                    false)),
-                                                                    EmptyString))))))))))))))))))))))))))))))))))))))))))))))))))))))))))))
-                                                                    []) :: (
-    (mkcut (S (S (S (S (S (S (S (S (S (S (S (S (S (S (S (S (S (S (S (S (S (S
-      (S (S (S (S (S (S (S (S (S (S (S (S (S (S (S (S (S (S (S (S (S (S (S (S
-      (S (S (S (S (S (S (S (S (S (S (S (S (S (S (S (S (S (S (S (S (S (S (S (S
-      (S (S (S (S (S (S
-      O))))))))))))))))))))))))))))))))))))))))))))))))))))))))))))))))))))))))))))
-      (S (S (S (S (S (S (S (S (S (S (S (S (S (S (S (S (S (S (S (S (S (S (S (S
-      (S (S (S (S (S (S (S (S (S (S (S (S (S (S (S (S (S (S (S (S (S (S (S (S
-      (S (S (S (S (S (S (S (S (S (S (S (S (S (S (S (S (S (S (S (S (S (S (S (S
-      (S (S (S (S (S (S
-      O))))))))))))))))))))))))))))))))))))))))))))))))))))))))))))))))))))))))))))))
-      (String ((Ascii (false, false, true, false, false, false, true,
-      false)), (String ((Ascii (true, false, false, true, false, true, true,
-      false)), (String ((Ascii (true, true, false, false, true, true, true,
-      false)), (String ((Ascii (false, false, false, true, false, true, true,
-      false)), (String ((Ascii (true, true, true, true, false, true, true,
-      false)), (String ((Ascii (false, true, true, true, false, true, true,
-      false)), (String ((Ascii (true, true, true, true, false, true, true,
-      false)), (String ((Ascii (false, true, false, false, true, true, true,
-      false)), (String ((Ascii (true, false, true, false, false, true, true,
-      false)), (String ((Ascii (false, false, true, false, false, true, true,
-      false)), (String ((Ascii (false, true, false, false, true, false, true,
-      false)), (String ((Ascii (true, false, true, false, false, true, true,
-      false)), (String ((Ascii (false, false, true, false, true, true, true,
-      false)), (String ((Ascii (true, false, true, false, true, true, true,
-      false)), (String ((Ascii (false, true, false, false, true, true, true,
-      false)), (String ((Ascii (false, true, true, true, false, true, true,
-      false)), (String ((Ascii (false, true, false, false, true, false, true,
-      false)), (String ((Ascii (true, false, true, false, false, true, true,
-      false)), (String ((Ascii (true, false, false, false, false, true, true,
-      false)), (String ((Ascii (true, true, false, false, true, true, true,
-      false)), (String ((Ascii (true, true, true, true, false, true, true,
-      false)), (String ((Ascii (false, true, true, true, false, true, true,
-      false)), (String ((Ascii (true, true, false, false, false, false, true,
-      false)), (String ((Ascii (true, true, true, true, false, true, true,
-      false)), (String ((Ascii (false, false, true, false, false, true, true,
-      false)), (String ((Ascii (true, false, true, false, false, true, true,
-      false)),
-      EmptyString)))))))))))))))))))))))))))))))))))))))))))))))))))) []) :: (
-    (mkcut (S (S (S (S (S (S (S (S (S (S (S (S (S (S (S (S (S (S (S (S (S (S
-      (S (S (S (S (S (S (S (S (S (S (S (S (S (S (S (S (S (S (S (S (S (S (S (S
-      (S (S (S (S (S (S (S (S (S (S (S (S (S (S (S (S (S (S (S (S (S (S (S (S
-      (S (S (S (S (S (S (S (S
-      O))))))))))))))))))))))))))))))))))))))))))))))))))))))))))))))))))))))))))))))
-      (S (S (S (S (S (S (S (S (S (S (S (S (S (S (S (S (S (S (S (S (S (S (S (S
-      (S (S (S (S (S (S (S (S (S (S (S (S (S (S (S (S (S (S (S (S (S (S (S (S
-      (S (S (S (S (S (S (S (S (S (S (S (S (S (S (S (S (S (S (S (S (S (S (S (S
-      (S (S (S (S (S (S (S
-      O)))))))))))))))))))))))))))))))))))))))))))))))))))))))))))))))))))))))))))))))
-      EmptyString []) :: ((mkcut (S (S (S (S (S (S (S (S (S (S (S (S (S (S (S
-                            (S (S (S (S (S (S (S (S (S (S (S (S (S (S (S (S
-                            (S (S (S (S (S (S (S (S (S (S (S (S (S (S (S (S
-                            (S (S (S (S (S (S (S (S (S (S (S (S (S (S (S (S
-                            (S (S (S (S (S (S (S (S (S (S (S (S (S (S (S (S
-                            O)))))))))))))))))))))))))))))))))))))))))))))))))))))))))))))))))))))))))))))))
-                            (S (S (S (S (S (S (S (S (S (S (S (S (S (S (S (S
-                            (S (S (S (S (S (S (S (S (S (S (S (S (S (S (S (S
-                            (S (S (S (S (S (S (S (S (S (S (S (S (S (S (S (S
-                            (S (S (S (S (S (S (S (S (S (S (S (S (S (S (S (S
-                            (S (S (S (S (S (S (S (S (S (S (S (S (S (S (S (S
-                            (S (S (S (S (S (S (S (S (S (S (S (S (S (S
-                            O))))))))))))))))))))))))))))))))))))))))))))))))))))))))))))))))))))))))))))))))))))))))))))))
-                            (String ((Ascii (false, false, true, false, true,
-                            false, true, false)), (String ((Ascii (false,
-                            true, false, false, true, true, true, false)),
-                            (String ((Ascii (true, false, false, false,
-                            false, true, true, false)), (String ((Ascii
-                            (true, true, false, false, false, true, true,
-                            false)), (String ((Ascii (true, false, true,
-                            false, false, true, true, false)), (String
-                            ((Ascii (false, true, true, true, false, false,
-                            true, false)), (String ((Ascii (true, false,
-                            true, false, true, true, true, false)), (String
-                            ((Ascii (true, false, true, true, false, true,
-                            true, false)), (String ((Ascii (false, true,
-                            false, false, false, true, true, false)), (String
-                            ((Ascii (true, false, true, false, false, true,
-                            true, false)), (String ((Ascii (false, true,
-                            false, false, true, true, true, false)),
-                            EmptyString)))))))))))))))))))))) []) :: []))))))))))))))) }
-
-(** val l_Addenda99Dishonored : layout **)
-
-let l_Addenda99Dishonored =
-  { l_name = (String ((Ascii (true, false, false, false, false, false, true,
-    false)), (String ((Ascii (false, false, true, false, false, true, true,
-    false)), (String ((Ascii (false, false, true, false, false, true, true,
-    false)), (String ((Ascii (true, false, true, false, false, true, true,
-    false)), (String ((Ascii (false, true, true, true, false, true, true,
-    false)), (String ((Ascii (false, false, true, false, false, true, true,
-    false)), (String ((Ascii (true, false, false, false, false, true, true,
-    false)), (String ((Ascii (true, false, false, true, true, true, false,
-    false)), (String ((Ascii (true, false, false, true, true, true, false,
-    false)), (String ((Ascii (false, false, true, false, false, false, true,
-    false)), (String ((Ascii (true, false, false, true, false, true, true,
-    false)), (String ((Ascii (true, true, false, false, true, true, true,
-    false)), (String ((Ascii (false, false, false, true, false, true, true,
-    false)), (String ((Ascii (true, true, true, true, false, true, true,
-    false)), (String ((Ascii (false, true, true, true, false, true, true,
-    false)), (String ((Ascii (true, true, true, true, false, true, true,
-    false)), (String ((Ascii (false, true, false, false, true, true, true,
-    false)), (String ((Ascii (true, false, true, false, false, true, true,
-    false)), (String ((Ascii (false, false, true, false, false, true, true,
-    false)), EmptyString)))))))))))))))))))))))))))))))))))))); l_ix = IRune;
-    l_segs = ((SLit ((Npos (XI (XI (XI (XO (XI XH)))))) :: [])) :: ((SRaw
-    (String ((Ascii (false, false, true, false, true, false, true, false)),
-    (String ((Ascii (true, false, false, true, true, true, true, false)),
-    (String ((Ascii (false, false, false, false, true, true, true, false)),
-    (String ((Ascii (true, false, true, false, false, true, true, false)),
-    (String ((Ascii (true, true, false, false, false, false, true, false)),
-    (String ((Ascii (true, true, true, true, false, true, true, false)),
-    (String ((Ascii (false, false, true, false, false, true, true, false)),
-    (String ((Ascii (true, false, true, false, false, true, true, false)),
-    EmptyString))))))))))))))))) :: ((SStr ((String ((Ascii (false, false,
-    true, false, false, false, true, false)), (String ((Ascii (true, false,
-    false, true, false, true, true, false)), (String ((Ascii (true, true,
-    false, false, true, true, true, false)), (String ((Ascii (false, false,
-    false, true, false, true, true, false)), (String ((Ascii (true, true,
-    true, true, false, true, true, false)), (String ((Ascii (false, true,
-    true, true, false, true, true, false)), (String ((Ascii (true, true,
-    true, true, false, true, true, false)), (String ((Ascii (false, true,
-    false, false, true, true, true, false)), (String ((Ascii (true, false,
-    true, false, false, true, true, false)), (String ((Ascii (false, false,
-    true, false, false, true, true, false)), (String ((Ascii (false, true,
-    false, false, true, false, true, false)), (String ((Ascii (true, false,
-    true, false, false, true, true, false)), (String ((Ascii (false, false,
-    true, false, true, true, true, false)), (String ((Ascii (true, false,
-    true, false, true, true, true, false)), (String ((Ascii (false, true,
-    false, false, true, true, true, false)), (String ((Ascii (false, true,
-    true, true, false, true, true, false)), (String ((Ascii (false, true,
-    false, false, true, false, true, false)), (String ((Ascii (true, false,
-    true, false, false, true, true, false)), (String ((Ascii (true, false,
-    false, false, false, true, true, false)), (String ((Ascii (true, true,
-    false, false, true, true, true, false)), (String ((Ascii (true, true,
-    true, true, false, true, true, false)), (String ((Ascii (false, true,
-    true, true, false, true, true, false)), (String ((Ascii (true, true,
-    false, false, false, false, true, false)), (String ((Ascii (true, true,
-    true, true, false, true, true, false)), (String ((Ascii (false, false,
-    true, false, false, true, true, false)), (String ((Ascii (true, false,
-    true, false, false, true, true, false)),
-    EmptyString)))))))))))))))))))))))))))))))))))))))))))))))))))), (S (S (S
-    O))))) :: ((SStr ((String ((Ascii (true, true, true, true, false, false,
-    true, false)), (String ((Ascii (false, true, false, false, true, true,
-    true, false)), (String ((Ascii (true, false, false, true, false, true,
-    true, false)), (String ((Ascii (true, true, true, false, false, true,
-    true, false)), (String ((Ascii (true, false, false, true, false, true,
-    true, false)), (String ((Ascii (false, true, true, true, false, true,
-    true, false)), (String ((Ascii (true, false, false, false, false, true,
-    true, false)), (String ((Ascii (false, false, true, true, false, true,
-    true, false)), (String ((Ascii (true, false, true, false, false, false,
-    true, false)), (String ((Ascii (false, true, true, true, false, true,
-    true, false)), (String ((Ascii (false, false, true, false, true, true,
-    true, false)), (String ((Ascii (false, true, false, false, true, true,
-    true, false)), (String ((Ascii (true, false, false, true, true, true,
-    true, false)), (String ((Ascii (false, false, true, false, true, false,
-    true, false)), (String ((Ascii (false, true, false, false, true, true,
-    true, false)), (String ((Ascii (true, false, false, false, false, true,
-    true, false)), (String ((Ascii (true, true, false, false, false, true,
-    true, false)), (String ((Ascii (true, false, true, false, false, true,
-    true, false)), (String ((Ascii (false, true, true, true, false, false,
-    true, false)), (String ((Ascii (true, false, true, false, true, true,
-    true, false)), (String ((Ascii (true, false, true, true, false, true,
-    true, false)), (String ((Ascii (false, true, false, false, false, true,
-    true, false)), (String ((Ascii (true, false, true, false, false, true,
-    true, false)), (String ((Ascii (false, true, false, false, true, true,
-    true, false)),
-    EmptyString)))))))))))))))))))))))))))))))))))))))))))))))), (S (S (S (S
-    (S (S (S (S (S (S (S (S (S (S (S O))))))))))))))))) :: ((SLit ((Npos (XO
-    (XO (XO (XO (XO XH)))))) :: ((Npos (XO (XO (XO (XO (XO XH)))))) :: ((Npos
-    (XO (XO (XO (XO (XO XH)))))) :: ((Npos (XO (XO (XO (XO (XO
-    XH)))))) :: ((Npos (XO (XO (XO (XO (XO XH)))))) :: ((Npos (XO (XO (XO (XO
-    (XO XH)))))) :: []))))))) :: ((SStr ((String ((Ascii (true, true, true,
-    true, false, false, true, false)), (String ((Ascii (false, true, false,
-    false, true, true, true, false)), (String ((Ascii (true, false, false,
-    true, false, true, true, false)), (String ((Ascii (true, true, true,
-    false, false, true, true, false)), (String ((Ascii (true, false, false,
-    true, false, true, true, false)), (String ((Ascii (false, true, true,
-    true, false, true, true, false)), (String ((Ascii (true, false, false,
-    false, false, true, true, false)), (String ((Ascii (false, false, true,
-    true, false, true, true, false)), (String ((Ascii (false, true, false,
-    false, true, false, true, false)), (String ((Ascii (true, false, true,
-    false, false, true, true, false)), (String ((Ascii (true, true, false,
-    false, false, true, true, false)), (String ((Ascii (true, false, true,
-    false, false, true, true, false)), (String ((Ascii (true, false, false,
-    true, false, true, true, false)), (String ((Ascii (false, true, true,
-    false, true, true, true, false)), (String ((Ascii (true, false, false,
-    true, false, true, true, false)), (String ((Ascii (false, true, true,
-    true, false, true, true, false)), (String ((Ascii (true, true, true,
-    false, false, true, true, false)), (String ((Ascii (false, false, true,
-    false, false, false, true, false)), (String ((Ascii (false, true, true,
-    false, false, false, true, false)), (String ((Ascii (true, false, false,
-    true, false, false, true, false)), (String ((Ascii (true, false, false,
-    true, false, false, true, false)), (String ((Ascii (false, false, true,
-    false, false, true, true, false)), (String ((Ascii (true, false, true,
-    false, false, true, true, false)), (String ((Ascii (false, true, true,
-    true, false, true, true, false)), (String ((Ascii (false, false, true,
-    false, true, true, true, false)), (String ((Ascii (true, false, false,
-    true, false, true, true, false)), (String ((Ascii (false, true, true,
-    false, false, true, true, false)), (String ((Ascii (true, false, false,
-    true, false, true, true, false)), (String ((Ascii (true, true, false,
-    false, false, true, true, false)), (String ((Ascii (true, false, false,
-    false, false, true, true, false)), (String ((Ascii (false, false, true,
-    false, true, true, true, false)), (String ((Ascii (true, false, false,
-    true, false, true, true, false)), (String ((Ascii (true, true, true,
-    true, false, true, true, false)), (String ((Ascii (false, true, true,
-    true, false, true, true, false)),
-    EmptyString)))))))))))))))))))))))))))))))))))))))))))))))))))))))))))))))))))),
-    (S (S (S (S (S (S (S (S O)))))))))) :: ((SLit ((Npos (XO (XO (XO (XO (XO
-    XH)))))) :: ((Npos (XO (XO (XO (XO (XO XH)))))) :: ((Npos (XO (XO (XO (XO
-    (XO XH)))))) :: [])))) :: ((SStr ((String ((Ascii (false, true, false,
-    false, true, false, true, false)), (String ((Ascii (true, false, true,
-    false, false, true, true, false)), (String ((Ascii (false, false, true,
-    false, true, true, true, false)), (String ((Ascii (true, false, true,
-    false, true, true, true, false)), (String ((Ascii (false, true, false,
-    false, true, true, true, false)), (String ((Ascii (false, true, true,
-    true, false, true, true, false)), (String ((Ascii (false, false, true,
-    false, true, false, true, false)), (String ((Ascii (false, true, false,
-    false, true, true, true, false)), (String ((Ascii (true, false, false,
-    false, false, true, true, false)), (String ((Ascii (true, true, false,
-    false, false, true, true, false)), (String ((Ascii (true, false, true,
-    false, false, true, true, false)), (String ((Ascii (false, true, true,
-    true, false, false, true, false)), (String ((Ascii (true, false, true,
-    false, true, true, true, false)), (String ((Ascii (true, false, true,
-    true, false, true, true, false)), (String ((Ascii (false, true, false,
-    false, false, true, true, false)), (String ((Ascii (true, false, true,
-    false, false, true, true, false)), (String ((Ascii (false, true, false,
-    false, true, true, true, false)),
-    EmptyString)))))))))))))))))))))))))))))))))), (S (S (S (S (S (S (S (S (S
-    (S (S (S (S (S (S O))))))))))))))))) :: ((SStr ((String ((Ascii (false,
-    true, false, false, true, false, true, false)), (String ((Ascii (true,
-    false, true, false, false, true, true, false)), (String ((Ascii (false,
-    false, true, false, true, true, true, false)), (String ((Ascii (true,
-    false, true, false, true, true, true, false)), (String ((Ascii (false,
-    true, false, false, true, true, true, false)), (String ((Ascii (false,
-    true, true, true, false, true, true, false)), (String ((Ascii (true,
-    true, false, false, true, false, true, false)), (String ((Ascii (true,
-    false, true, false, false, true, true, false)), (String ((Ascii (false,
-    false, true, false, true, true, true, false)), (String ((Ascii (false,
-    false, true, false, true, true, true, false)), (String ((Ascii (false,
-    false, true, true, false, true, true, false)), (String ((Ascii (true,
-    false, true, false, false, true, true, false)), (String ((Ascii (true,
-    false, true, true, false, true, true, false)), (String ((Ascii (true,
-    false, true, false, false, true, true, false)), (String ((Ascii (false,
-    true, true, true, false, true, true, false)), (String ((Ascii (false,
-    false, true, false, true, true, true, false)), (String ((Ascii (false,
-    false, true, false, false, false, true, false)), (String ((Ascii (true,
-    false, false, false, false, true, true, false)), (String ((Ascii (false,
-    false, true, false, true, true, true, false)), (String ((Ascii (true,
-    false, true, false, false, true, true, false)),
-    EmptyString)))))))))))))))))))))))))))))))))))))))), (S (S (S
-    O))))) :: ((SStr ((String ((Ascii (false, true, false, false, true,
-    false, true, false)), (String ((Ascii (true, false, true, false, false,
-    true, true, false)), (String ((Ascii (false, false, true, false, true,
-    true, true, false)), (String ((Ascii (true, false, true, false, true,
-    true, true, false)), (String ((Ascii (false, true, false, false, true,
-    true, true, false)), (String ((Ascii (false, true, true, true, false,
-    true, true, false)), (String ((Ascii (false, true, false, false, true,
-    false, true, false)), (String ((Ascii (true, false, true, false, false,
-    true, true, false)), (String ((Ascii (true, false, false, false, false,
-    true, true, false)), (String ((Ascii (true, true, false, false, true,
-    true, true, false)), (String ((Ascii (true, true, true, true, false,
-    true, true, false)), (String ((Ascii (false, true, true, true, false,
-    true, true, false)), (String ((Ascii (true, true, false, false, false,
-    false, true, false)), (String ((Ascii (true, true, true, true, false,
-    true, true, false)), (String ((Ascii (false, false, true, false, false,
-    true, true, false)), (String ((Ascii (true, false, true, false, false,
-    true, true, false)), EmptyString)))))))))))))))))))))))))))))))), (S (S
-    O)))) :: ((SAlpha ((String ((Ascii (true, false, false, false, false,
-    false, true, false)), (String ((Ascii (false, false, true, false, false,
-    true, true, false)), (String ((Ascii (false, false, true, false, false,
-    true, true, false)), (String ((Ascii (true, false, true, false, false,
-    true, true, false)), (String ((Ascii (false, true, true, true, false,
-    true, true, false)), (String ((Ascii (false, false, true, false, false,
-    true, true, false)), (String ((Ascii (true, false, false, false, false,
-    true, true, false)), (String ((Ascii (true, false, false, true, false,
-    false, true, false)), (String ((Ascii (false, true, true, true, false,
-    true, true, false)), (String ((Ascii (false, true, true, false, false,
-    true, true, false)), (String ((Ascii (true, true, true, true, false,
-    true, true, false)), (String ((Ascii (false, true, false, false, true,
-    true, true, false)), (String ((Ascii (true, false, true, true, false,
-    true, true, false)), (String ((Ascii (true, false, false, false, false,
-    true, true, false)), (String ((Ascii (false, false, true, false, true,
-    true, true, false)), (String ((Ascii (true, false, false, true, false,
-    true, true, false)), (String ((Ascii (true, true, true, true, false,
-    true, true, false)), (String ((Ascii (false, true, true, true, false,
-    true, true, false)), EmptyString)))))))))))))))))))))))))))))))))))), (S
-    (S (S (S (S (S (S (S (S (S (S (S (S (S (S (S (S (S (S (S (S
-    O))))))))))))))))))))))) :: ((SStr ((String ((Ascii (false, false, true,
-    false, true, false, true, false)), (String ((Ascii (false, true, false,
-    false, true, true, true, false)), (String ((Ascii (true, false, false,
-    false, false, true, true, false)), (String ((Ascii (true, true, false,
-    false, false, true, true, false)), (String ((Ascii (true, false, true,
-    false, false, true, true, false)), (String ((Ascii (false, true, true,
-    true, false, false, true, false)), (String ((Ascii (true, false, true,
-    false, true, true, true, false)), (String ((Ascii (true, false, true,
-    true, false, true, true, false)), (String ((Ascii (false, true, false,
-    false, false, true, true, false)), (String ((Ascii (true, false, true,
-    false, false, true, true, false)), (String ((Ascii (false, true, false,
-    false, true, true, true, false)), EmptyString)))))))))))))))))))))), (S
-    (S (S (S (S (S (S (S (S (S (S (S (S (S (S
-    O))))))))))))))))) :: [])))))))))))); l_cuts =
-    ((mkcut O (S O) EmptyString []) :: ((mkcut (S O) (S (S (S O))) (String
-                                          ((Ascii (false, false, true, false,
-                                          true, false, true, false)), (String
-                                          ((Ascii (true, false, false, true,
-                                          true, true, true, false)), (String
-                                          ((Ascii (false, false, false,
-                                          false, true, true, true, false)),
-                                          (String ((Ascii (true, false, true,
-                                          false, false, true, true, false)),
-                                          (String ((Ascii (true, true, false,
-                                          false, false, false, true, false)),
-                                          (String ((Ascii (true, true, true,
-                                          true, false, true, true, false)),
-                                          (String ((Ascii (false, false,
-                                          true, false, false, true, true,
-                                          false)), (String ((Ascii (true,
-                                          false, true, false, false, true,
-                                          true, false)),
-                                          EmptyString)))))))))))))))) []) :: (
-    (mkcut (S (S (S O))) (S (S (S (S (S (S O)))))) (String ((Ascii (false,
-      false, true, false, false, false, true, false)), (String ((Ascii (true,
-      false, false, true, false, true, true, false)), (String ((Ascii (true,
-      true, false, false, true, true, true, false)), (String ((Ascii (false,
-      false, false, true, false, true, true, false)), (String ((Ascii (true,
-      true, true, true, false, true, true, false)), (String ((Ascii (false,
-      true, true, true, false, true, true, false)), (String ((Ascii (true,
-      true, true, true, false, true, true, false)), (String ((Ascii (false,
-      true, false, false, true, true, true, false)), (String ((Ascii (true,
-      false, true, false, false, true, true, false)), (String ((Ascii (false,
-      false, true, false, false, true, true, false)), (String ((Ascii (false,
-      true, false, false, true, false, true, false)), (String ((Ascii (true,
-      false, true, false, false, true, true, false)), (String ((Ascii (false,
-      false, true, false, true, true, true, false)), (String ((Ascii (true,
-      false, true, false, true, true, true, false)), (String ((Ascii (false,
-      true, false, false, true, true, true, false)), (String ((Ascii (false,
-      true, true, true, false, true, true, false)), (String ((Ascii (false,
-      true, false, false, true, false, true, false)), (String ((Ascii (true,
-      false, true, false, false, true, true, false)), (String ((Ascii (true,
-      false, false, false, false, true, true, false)), (String ((Ascii (true,
-      true, false, false, true, true, true, false)), (String ((Ascii (true,
-      true, true, true, false, true, true, false)), (String ((Ascii (false,
-      true, true, true, false, true, true, false)), (String ((Ascii (true,
-      true, false, false, false, false, true, false)), (String ((Ascii (true,
-      true, true, true, false, true, true, false)), (String ((Ascii (false,
-      false, true, false, false, true, true, false)), (String ((Ascii (true,
-      false, true, false, false, true, true, false)),
-      EmptyString)))))))))))))))))))))))))))))))))))))))))))))))))))) []) :: (
-    (mkcut (S (S (S (S (S (S O)))))) (S (S (S (S (S (S (S (S (S (S (S (S (S
-      (S (S (S (S (S (S (S (S O))))))))))))))))))))) (String ((Ascii (true,
-      true, true, true, false, false, true, false)), (String ((Ascii (false,
-      true, false, false, true, true, true, false)), (String ((Ascii (true,
-      false, false, true, false, true, true, false)), (String ((Ascii (true,
-      true, true, false, false, true, true, false)), (String ((Ascii (true,
-      false, false, true, false, true, true, false)), (String ((Ascii (false,
-      true, true, true, false, true, true, false)), (String ((Ascii (true,
-      false, false, false, false, true, true, false)), (String ((Ascii
-      (false, false, true, true, false, true, true, false)), (String ((Ascii
-      (true, false, true, false, false, false, true, false)), (String ((Ascii
-      (false, true, true, true, false, true, true, false)), (String ((Ascii
-      (false, false, true, false, true, true, true, false)), (String ((Ascii
-      (false, true, false, false, true, true, true, false)), (String ((Ascii
-      (true, false, false, true, true, true, true, false)), (String ((Ascii
-      (false, false, true, false, true, false, true, false)), (String ((Ascii
-      (false, true, false, false, true, true, true, false)), (String ((Ascii
-      (true, false, false, false, false, true, true, false)), (String ((Ascii
-      (true, true, false, false, false, true, true, false)), (String ((Ascii
-      (true, false, true, false, false, true, true, false)), (String ((Ascii
-      (false, true, true, true, false, false, true, false)), (String ((Ascii
-      (true, false, true, false, true, true, true, false)), (String ((Ascii
-      (true, false, true, true, false, true, true, false)), (String ((Ascii
-      (false, true, false, false, false, true, true, false)), (String ((Ascii
-      (true, false, true, false, false, true, true, false)), (String ((Ascii
-      (false, true, false, false, true, true, true, false)),
-      EmptyString)))))))))))))))))))))))))))))))))))))))))))))))) []) :: (
-    (mkcut (S (S (S (S (S (S (S (S (S (S (S (S (S (S (S (S (S (S (S (S (S
-      O))))))))))))))))))))) (S (S (S (S (S (S (S (S (S (S (S (S (S (S (S (S
-      (S (S (S (S (S (S (S (S (S (S (S O)))))))))))))))))))))))))))
-      EmptyString []) :: ((mkcut (S (S (S (S (S (S (S (S (S (S (S (S (S (S (S
-                            (S (S (S (S (S (S (S (S (S (S (S (S
-                            O))))))))))))))))))))))))))) (S (S (S (S (S (S (S
-                            (S (S (S (S (S (S (S (S (S (S (S (S (S (S (S (S
-                            (S (S (S (S (S (S (S (S (S (S (S (S
-                            O))))))))))))))))))))))))))))))))))) (String
-                            ((Ascii (true, true, true, true, false, false,
-                            true, false)), (String ((Ascii (false, true,
-                            false, false, true, true, true, false)), (String
-                            ((Ascii (true, false, false, true, false, true,
-                            true, false)), (String ((Ascii (true, true, true,
-                            false, false, true, true, false)), (String
-                            ((Ascii (true, false, false, true, false, true,
-                            true, false)), (String ((Ascii (false, true,
-                            true, true, false, true, true, false)), (String
-                            ((Ascii (true, false, false, false, false, true,
-                            true, false)), (String ((Ascii (false, false,
-                            true, true, false, true, true, false)), (String
-                            ((Ascii (false, true, false, false, true, false,
-                            true, false)), (String ((Ascii (true, false,
-                            true, false, false, true, true, false)), (String
-                            ((Ascii (true, true, false, false, false, true,
-                            true, false)), (String ((Ascii (true, false,
-                            true, false, false, true, true, false)), (String
-                            ((Ascii (true, false, false, true, false, true,
-                            true, false)), (String ((Ascii (false, true,
-                            true, false, true, true, true, false)), (String
-                            ((Ascii (true, false, false, true, false, true,
-                            true, false)), (String ((Ascii (false, true,
-                            true, true, false, true, true, false)), (String
-                            ((Ascii (true, true, true, false, false, true,
-                            true, false)), (String ((Ascii (false, false,
-                            true, false, false, false, true, false)), (String
-                            ((Ascii (false, true, true, false, false, false,
-                            true, false)), (String ((Ascii (true, false,
-                            false, true, false, false, true, false)), (String
-                            ((Ascii (true, false, false, true, false, false,
-                            true, false)), (String ((Ascii (false, false,
-                            true, false, false, true, true, false)), (String
-                            ((Ascii (true, false, true, false, false, true,
-                            true, false)), (String ((Ascii (false, true,
-                            true, true, false, true, true, false)), (String
-                            ((Ascii (false, false, true, false, true, true,
-                            true, false)), (String ((Ascii (true, false,
-                            false, true, false, true, true, false)), (String
-                            ((Ascii (false, true, true, false, false, true,
-                            true, false)), (String ((Ascii (true, false,
-                            false, true, false, true, true, false)), (String
-                            ((Ascii (true, true, false, false, false, true,
-                            true, false)), (String ((Ascii (true, false,
-                            false, false, false, true, true, false)), (String
-                            ((Ascii (false, false, true, false, true, true,
-                            true, false)), (String ((Ascii (true, false,
-                            false, true, false, true, true, false)), (String
-                            ((Ascii (true, true, true, true, false, true,
-                            true, false)), (String ((Ascii (false, true,
-                            true, true, false, true, true, false)),
-                            EmptyString))))))))))))))))))))))))))))))))))))))))))))))))))))))))))))))))))))
-                            []) :: ((mkcut (S (S (S (S (S (S (S (S (S (S (S
-                                      (S (S (S (S (S (S (S (S (S (S (S (S (S
-                                      (S (S (S (S (S (S (S (S (S (S (S
-                                      O))))))))))))))))))))))))))))))))))) (S
-                                      (S (S (S (S (S (S (S (S (S (S (S (S (S
-                                      (S (S (S (S (S (S (S (S (S (S (S (S (S
-                                      (S (S (S (S (S (S (S (S (S (S (S
-                                      O))))))))))))))))))))))))))))))))))))))
-                                      EmptyString []) :: ((mkcut (S (S (S (S
-                                                            (S (S (S (S (S (S
-                                                            (S (S (S (S (S (S
-                                                            (S (S (S (S (S (S
-                                                            (S (S (S (S (S (S
-                                                            (S (S (S (S (S (S
-                                                            (S (S (S (S
-                                                            O))))))))))))))))))))))))))))))))))))))
-                                                            (S (S (S (S (S (S
-                                                            (S (S (S (S (S (S
-                                                            (S (S (S (S (S (S
-                                                            (S (S (S (S (S (S
-                                                            (S (S (S (S (S (S
-                                                            (S (S (S (S (S (S
-                                                            (S (S (S (S (S (S
-                                                            (S (S (S (S (S (S
-                                                            (S (S (S (S (S
-                                                            O)))))))))))))))))))))))))))))))))))))))))))))))))))))
-                                                            (String ((Ascii
-                                                            (false, true,
-                                                            false, false,
-                                                            true, false,
-                                                            true, false)),
-                                                            (String ((Ascii
-                                                            (true, false,
-                                                            true, false,
-                                                            false, true,
-                                                            true, false)),
-                                                            (String ((Ascii
-                                                            (false, false,
-                                                            true, false,
-                                                            true, true, true,
-                                                            false)), (String
-                                                            ((Ascii (true,
-                                                            false, true,
-                                                            false, true,
-                                                            true, true,
-                                                            false)), (String
-                                                            ((Ascii (false,
-                                                            true, false,
-                                                            false, true,
-                                                            true, true,
-                                                            false)), (String
-                                                            ((Ascii (false,
-                                                            true, true, true,
-                                                            false, true,
-                                                            true, false)),
-                                                            (String ((Ascii
-                                                            (false, false,
-                                                            true, false,
-                                                            true, false,
-                                                            true, false)),
-                                                            (String ((Ascii
-                                                            (false, true,
-                                                            false, false,
-                                                            true, true, true,
-                                                            false)), (String
-                                                            ((Ascii (true,
-                                                            false, false,
-                                                            false, false,
-                                                            true, true,
-                                                            false)), (String
-                                                            ((Ascii (true,
-                                                            true, false,
-                                                            false, false,
-                                                            true, true,
-                                                            false)), (String
-                                                            ((Ascii (true,
-                                                            false, true,
-                                                            false, false,
-                                                            true, true,
-                                                            false)), (String
-                                                            ((Ascii (false,
-                                                            true, true, true,
-                                                            false, false,
-                                                            true, false)),
-                                                            (String ((Ascii
-                                                            (true, false,
-                                                            true, false,
-                                                            true, true, true,
-                                                            false)), (String
-                                                            ((Ascii (true,
-                                                            false, true,
-                                                            true, false,
-                                                            true, true,
-                                                            false)), (String
-                                                            ((Ascii (false,
-                                                            true, false,
-                                                            false, false,
-                                                            true, true,
-                                                            false)), (String
-                                                            ((Ascii (true,
-                                                            false, true,
-                                                            false, false,
-                                                            true, true,
-                                                            false)), (String
-                                                            ((Ascii (false,
-                                                            true, false,
-                                                            false, true,
-                                                            true, true,
-                                                            false)),
-                                                            EmptyString))))))))))))))))))))))))))))))))))
-                                                            []) :: ((mkcut (S
-                                                                    (S (S (S
-                                                                    (S (S (S
-                                                                    (S (S (S
-                                                                    (S (S (S
-                                                                    (S (S (S
-                                                                    (S (S (S
-                                                                    (S (S (S
-                                                                    (S (S (S
-                                                                    (S (S (S
-                                                                    (S (S (S
-                                                                    (S (S (S
-                                                                    (S (S (S
-                                                                    (S (S (S
-                                                                    (S (S (S
-                                                                    (S (S (S
-                                                                    (S (S (S
-                                                                    (S (S (S
-                                                                    (S
-                                                                    O)))))))))))))))))))))))))))))))))))))))))))))))))))))
-                                                                    (S (S (S
-                                                                    (S (S (S
-                                                                    (S (S (S
-                                                                    (S (S (S
-                                                                    (S (S (S
-                                                                    (S (S (S
-                                                                    (S (S (S
-                                                                    (S (S (S
-                                                                    (S (S (S
-                                                                    (S (S (S
-                                                                    (S (S (S
-                                                                    (S (S (S
-                                                                    (S (S (S
-                                                                    (S (S (S
-                                                                    (S (S (S
-                                                                    (S (S (S
-                                                                    (S (S (S
-                                                                    (S (S (S
-                                                                    (S (S
-                                                                    O))))))))))))))))))))))))))))))))))))))))))))))))))))))))
-                                                                    (String
-                                                                    ((Ascii
-                                                                    (false,
-                                                                    true,
-                                                                    false,
-                                                                    false,
-                                                                    true,
-                                                                    false,
-                                                                    true,
-                                                                    false)),
-                                                                    (String
-                                                                    ((Ascii
-                                                                    (true,
-                                                                    false,
-                                                                    true,
-                                                                    false,
-                                                                    false,
-                                                                    true,
-                                                                    true,
-                                                                    false)),
-                                                                    (String
-                                                                    ((Ascii
-                                                                    (false,
-                                                                    false,
-                                                                    true,
-                                                                    false,
-                                                                    true,
-                                                                    true,
-                                                                    true,
-                                                                    false)),
-                                                                    (String
-                                                                    ((Ascii
-                                                                    (true,
-                                                                    false,
-                                                                    true,
-                                                                    false,
-                                                                    true,
-                                                                    true,
-                                                                    true,
-                                                                    false)),
-                                                                    (String
-                                                                    ((Ascii
-                                                                    (false,
-                                                                    true,
-                                                                    false,
-                                                                    false,
-                                                                    true,
-                                                                    true,
-                                                                    true,
-                                                                    false)),
-                                                                    (String
-                                                                    ((Ascii
-                                                                    (false,
-                                                                    true,
-                                                                    true,
-                                                                    true,
-                                                                    false,
-                                                                    true,
-                                                                    true,
-                                                                    false)),
-                                                                    (String
-                                                                    ((Ascii
-                                                                    (true,
-                                                                    true,
-                                                                    false,
-                                                                    false,
-                                                                    true,
-                                                                    false,
-                                                                    true,
-                                                                    false)),
-                                                                    (String
-                                                                    ((Ascii
-                                                                    (true,
-                                                                    false,
-                                                                    true,
-                                                                    false,
-                                                                    false,
-                                                                    true,
-                                                                    true,
-                                                                    false)),
-                                                                    (String
-                                                                    ((Ascii
-                                                                    (false,
-                                                                    false,
-                                                                    true,
-                                                                    false,
-                                                                    true,
-                                                                    true,
-                                                                    true,
-                                                                    false)),
-                                                                    (String
-                                                                    ((Ascii
-                                                                    (false,
-                                                                    false,
-                                                                    true,
-                                                                    false,
-                                                                    true,
-                                                                    true,
-                                                                    true,
-                                                                    false)),
-                                                                    (String
-                                                                    ((Ascii
-                                                                    (false,
-                                                                    false,
-                                                                    true,
-                                                                    true,
-                                                                    false,
-                                                                    true,
-                                                                    true,
-                                                                    false)),
-                                                                    (String
-                                                                    ((Ascii
-                                                                    (true,
-                                                                    false,
-                                                                    true,
-                                                                    false,
-                                                                    false,
-                                                                    true,
-                                                                    true,
-                                                                    false)),
-                                                                    (String
-                                                                    ((Ascii
-                                                                    (true,
-                                                                    false,
-                                                                    true,
-                                                                    true,
-                                                                    false,
-                                                                    true,
-                                                                    true,
-                                                                    false)),
-                                                                    (String
-                                                                    ((Ascii
-                                                                    (true,
-                                                                    false,
-                                                                    true,
-                                                                    false,
-                                                                    false,
-                                                                    true,
-                                                                    true,
-                                                                    false)),
-                                                                    (String
-                                                                    ((Ascii
-                                                                    (false,
-                                                                    true,
-                                                                    true,
-                                                                    true,
-                                                                    false,
-                                                                    true,
-                                                                    true,
-                                                                    false)),
-                                                                    (String
-                                                                    ((Ascii
-                                                                    (false,
-                                                                    false,
-                                                                    true,
-                                                                    false,
-                                                                    true,
-                                                                    true,
-                                                                    true,
-                                                                    false)),
-                                                                    (String
-                                                                    ((Ascii
-                                                                    (false,
-                                                                    false,
-                                                                    true,
-                                                                    false,
-                                                                    false,
-                                                                    false,
-                                                                    true,
-                                                                    false)),
-                                                                    (String
-                                                                    ((Ascii
-                                                                    (true,
-                                                                    false,
-                                                                    false,
-                                                                    false,
-                                                                    false,
-                                                                    true,
-                                                                    true,
-                                                                    false)),
-                                                                    (String
-                                                                    ((Ascii
-                                                                    (false,
-                                                                    false,
-                                                                    true,
-                                                                    false,
-                                                                    true,
-                                                                    true,
-                                                                    true,
-                                                                    false)),
-                                                                    (String
-                                                                    ((Ascii
-                                                                    (true,
-                                                                    false,
-                                                                    true,
-                                                                    false,
-                                                                    false,
-                                                                    true,
-                                                                    true,
-                                                                    false)),
-                                                                    EmptyString))))))))))))))))))))))))))))))))))))))))
-                                                                    []) :: (
-    (mkcut (S (S (S (S (S (S (S (S (S (S (S (S (S (S (S (S (S (S (S (S (S (S
-      (S (S (S (S (S (S (S (S (S (S (S (S (S (S (S (S (S (S (S (S (S (S (S (S
-      (S (S (S (S (S (S (S (S (S (S
-      O)))))))))))))))))))))))))))))))))))))))))))))))))))))))) (S (S (S (S
-      (S (S (S (S (S (S (S (S (S (S (S (S (S (S (S (S (S (S (S (S (S (S (S (S
-      (S (S (S (S (S (S (S (S (S (S (S (S (S (S (S (S (S (S (S (S (S (S (S (S
-      (S (S (S (S (S (S
-      O)))))))))))))))))))))))))))))))))))))))))))))))))))))))))) (String
-      ((Ascii (false, true, false, false, true, false, true, false)), (String
-      ((Ascii (true, false, true, false, false, true, true, false)), (String
-      ((Ascii (false, false, true, false, true, true, true, false)), (String
-      ((Ascii (true, false, true, false, true, true, true, false)), (String
-      ((Ascii (false, true, false, false, true, true, true, false)), (String
-      ((Ascii (false, true, true, true, false, true, true, false)), (String
-      ((Ascii (false, true, false, false, true, false, true, false)), (String
-      ((Ascii (true, false, true, false, false, true, true, false)), (String
-      ((Ascii (true, false, false, false, false, true, true, false)), (String
-      ((Ascii (true, true, false, false, true, true, true, false)), (String
-      ((Ascii (true, true, true, true, false, true, true, false)), (String
-      ((Ascii (false, true, true, true, false, true, true, false)), (String
-      ((Ascii (true, true, false, false, false, false, true, false)), (String
-      ((Ascii (true, true, true, true, false, true, true, false)), (String
-      ((Ascii (false, false, true, false, false, true, true, false)), (String
-      ((Ascii (true, false, true, false, false, true, true, false)),
-      EmptyString)))))))))))))))))))))))))))))))) []) :: ((mkcut (S (S (S (S
-                                                            (S (S (S (S (S (S
-                                                            (S (S (S (S (S (S
-                                                            (S (S (S (S (S (S
-                                                            (S (S (S (S (S (S
-                                                            (S (S (S (S (S (S
-                                                            (S (S (S (S (S (S
-                                                            (S (S (S (S (S (S
-                                                            (S (S (S (S (S (S
-                                                            (S (S (S (S (S (S
-                                                            O))))))))))))))))))))))))))))))))))))))))))))))))))))))))))
-                                                            (S (S (S (S (S (S
-                                                            (S (S (S (S (S (S
-                                                            (S (S (S (S (S (S
-                                                            (S (S (S (S (S (S
-                                                            (S (S (S (S (S (S
-                                                            (S (S (S (S (S (S
-                                                            (S (S (S (S (S (S
-                                                            (S (S (S (S (S (S
-                                                            (S (S (S (S (S (S
-                                                            (S (S (S (S (S (S
-                                                            (S (S (S (S (S (S
-                                                            (S (S (S (S (S (S
-                                                            (S (S (S (S (S (S
-                                                            (S
-                                                            O)))))))))))))))))))))))))))))))))))))))))))))))))))))))))))))))))))))))))))))))
-                                                            (String ((Ascii
-                                                            (true, false,
-                                                            false, false,
-                                                            false, false,
-                                                            true, false)),
-                                                            (String ((Ascii
-                                                            (false, false,
-                                                            true, false,
-                                                            false, true,
-                                                            true, false)),
-                                                            (String ((Ascii
-                                                            (false, false,
-                                                            true, false,
-                                                            false, true,
-                                                            true, false)),
-                                                            (String ((Ascii
-                                                            (true, false,
-                                                            true, false,
-                                                            false, true,
-                                                            true, false)),
-                                                            (String ((Ascii
-                                                            (false, true,
-                                                            true, true,
-                                                            false, true,
-                                                            true, false)),
-                                                            (String ((Ascii
-                                                            (false, false,
-                                                            true, false,
-                                                            false, true,
-                                                            true, false)),
-                                                            (String ((Ascii
-                                                            (true, false,
-                                                            false, false,
-                                                            false, true,
-                                                            true, false)),
-                                                            (String ((Ascii
-                                                            (true, false,
-                                                            false, true,
-                                                            false, false,
-                                                            true, false)),
-                                                            (String ((Ascii
-                                                            (false, true,
-                                                            true, true,
-                                                            false, true,
-                                                            true, false)),
-                                                            (String ((Ascii
-                                                            (false, true,
-                                                            true, false,
-                                                            false, true,
-                                                            true, false)),
-                                                            (String ((Ascii
-                                                            (true, true,
-                                                            true, true,
-                                                            false, true,
-                                                            true, false)),
-                                                            (String ((Ascii
-                                                            (false, true,
-                                                            false, false,
-                                                            true, true, true,
-                                                            false)), (String
-                                                            ((Ascii (true,
-                                                            false, true,
-                                                            true, false,
-                                                            true, true,
-                                                            false)), (String
-                                                            ((Ascii (true,
-                                                            false, false,
-                                                            false, false,
-                                                            true, true,
-                                                            false)), (String
-                                                            ((Ascii (false,
-                                                            false, true,
-                                                            false, true,
-                                                            true, true,
-                                                            false)), (String
-                                                            ((Ascii (true,
-                                                            false, false,
-                                                            true, false,
-                                                            true, true,
-                                                            false)), (String
-                                                            ((Ascii (true,
-                                                            true, true, true,
-                                                            false, true,
-                                                            true, false)),
-                                                            (String ((Ascii
-                                                            (false, true,
-                                                            true, true,
-                                                            false, true,
-                                                            true, false)),
-                                                            EmptyString))))))))))))))))))))))))))))))))))))
-                                                            []) :: ((mkcut (S
-                                                                    (S (S (S
-                                                                    (S (S (S
-                                                                    (S (S (S
-                                                                    (S (S (S
-                                                                    (S (S (S
-                                                                    (S (S (S
-                                                                    (S (S (S
-                                                                    (S (S (S
-                                                                    (S (S (S
-                                                                    (S (S (S
-                                                                    (S (S (S
-                                                                    (S (S (S
-                                                                    (S (S (S
-                                                                    (S (S (S
-                                                                    (S (S (S
-                                                                    (S (S (S
-                                                                    (S (S (S
-                                                                    (S (S (S
-                                                                    (S (S (S
-                                                                    (S (S (S
-                                                                    (S (S (S
-                                                                    (S (S (S
-                                                                    (S (S (S
-                                                                    (S (S (S
-                                                                    (S (S (S
-                                                                    (S (S (S
-                                                                    O)))))))))))))))))))))))))))))))))))))))))))))))))))))))))))))))))))))))))))))))
-                                                                    (S (S (S
-                                                                    (S (S (S
-                                                                    (S (S (S
-                                                                    (S (S (S
-                                                                    (S (S (S
-                                                                    (S (S (S
-                                                                    (S (S (S
-                                                                    (S (S (S
-                                                                    (S (S (S
-                                                                    (S (S (S
-                                                                    (S (S (S
-                                                                    (S (S (S
-                                                                    (S (S (S
-                                                                    (S (S (S
-                                                                    (S (S (S
-                                                                    (S (S (S
-                                                                    (S (S (S
-                                                                    (S (S (S
-                                                                    (S (S (S
-                                                                    (S (S (S
-                                                                    (S (S (S
-                                                                    (S (S (S
-                                                                    (S (S (S
-                                                                    (S (S (S
-                                                                    (S (S (S
-                                                                    (S (S (S
-                                                                    (S (S (S
-                                                                    (S (S (S
-                                                                    (S (S (S
-                                                                    (S (S (S
-                                                                    (S (S (S
-                                                                    (S
-                                                                    O))))))))))))))))))))))))))))))))))))))))))))))))))))))))))))))))))))))))))))))))))))))))))))))
-                                                                    (String
-                                                                    ((Ascii
-                                                                    (false,
-                                                                    false,
-                                                                    true,
-                                                                    false,
-                                                                    true,
-                                                                    false,
-                                                                    true,
-                                                                    false)),
-                                                                    (String
-                                                                    ((Ascii
-                                                                    (false,
-                                                                    true,
-                                                                    false,
-                                                                    false,
-                                                                    true,
-                                                                    true,
-                                                                    true,
-                                                                    false)),
-                                                                    (String
-                                                                    ((Ascii
-                                                                    (true,
-                                                                    false,
-                                                                    false,
-                                                                    false,
-                                                                    false,
-                                                                    true,
-                                                                    true,
-                                                                    false)),
-                                                                    (String
-                                                                    ((Ascii
-                                                                    (true,
-                                                                    true,
-                                                                    false,
-                                                                    false,
-                                                                    false,
-                                                                    true,
-                                                                    true,
-                                                                    false)),
-                                                                    (String
-                                                                    ((Ascii
-                                                                    (true,
-                                                                    false,
-                                                                    true,
-                                                                    false,
-                                                                    false,
-                                                                    true,
-                                                                    true,
-                                                                    false)),
-                                                                    (String
-                                                                    ((Ascii
-                                                                    (false,
-                                                                    true,
-                                                                    true,
-                                                                    true,
-                                                                    false,
-                                                                    false,
-                                                                    true,
-                                                                    false)),
-                                                                    (String
-                                                                    ((Ascii
-                                                                    (true,
-                                                                    false,
-                                                                    true,
-                                                                    false,
-                                                                    true,
-                                                                    true,
-                                                                    true,
-                                                                    false)),
-                                                                    (String
-                                                                    ((Ascii
-                                                                    (true,
-                                                                    false,
-                                                                    true,
-                                                                    true,
-                                                                    false,
-                                                                    true,
-                                                                    true,
-                                                                    false)),
-                                                                    (String
-                                                                    ((Ascii
-                                                                    (false,
-                                                                    true,
-                                                                    false,
-                                                                    false,
-                                                                    false,
-                                                                    true,
-                                                                    true,
-                                                                    false)),
-                                                                    (String
-                                                                    ((Ascii
-                                                                    (true,
-                                                                    false,
-                                                                    true,
-                                                                    false,
-                                                                    false,
-                                                                    true,
-                                                                    true,
-                                                                    false)),
-                                                                    (String
-                                                                    ((Ascii
-                                                                    (false,
-                                                                    true,
-                                                                    false,
-                                                                    false,
-                                                                    true,
-                                                                    true,
-                                                                    true,
-                                                                    false)),
-                                                                    EmptyString))))))))))))))))))))))
-                                                                    []) :: [])))))))))))) }
-
-(** val l_BatchControl : layout **)
-
-let l_BatchControl =
-  { l_name = (String ((Ascii (false, true, false, false, false, false, true,
-    false)), (String ((Ascii (true, false, false, false, false, true, true,
-    false)), (String ((Ascii (false, false, true, false, true, true, true,
-    false)), (String ((Ascii (true, true, false, false, false, true, true,
-    false)), (String ((Ascii (false, false, false, true, false, true, true,
-    false)), (String ((Ascii (true, true, false, false, false, false, true,
-    false)), (String ((Ascii (true, true, true, true, false, true, true,
-    false)), (String ((Ascii (false, true, true, true, false, true, true,
-    false)), (String ((Ascii (false, false, true, false, true, true, true,
-    false)), (String ((Ascii (false, true, false, false, true, true, true,
-    false)), (String ((Ascii (true, true, true, true, false, true, true,
-    false)), (String ((Ascii (false, false, true, true, false, true, true,
-    false)), EmptyString)))))))))))))))))))))))); l_ix = IByte; l_segs =
-    ((SLit ((Npos (XO (XO (XO (XI (XI XH)))))) :: [])) :: ((SItoa (String
-    ((Ascii (true, true, false, false, true, false, true, false)), (String
-    ((Ascii (true, false, true, false, false, true, true, false)), (String
-    ((Ascii (false, true, false, false, true, true, true, false)), (String
-    ((Ascii (false, true, true, false, true, true, true, false)), (String
-    ((Ascii (true, false, false, true, false, true, true, false)), (String
-    ((Ascii (true, true, false, false, false, true, true, false)), (String
-    ((Ascii (true, false, true, false, false, true, true, false)), (String
-    ((Ascii (true, true, false, false, false, false, true, false)), (String
-    ((Ascii (false, false, true, true, false, true, true, false)), (String
-    ((Ascii (true, false, false, false, false, true, true, false)), (String
-    ((Ascii (true, true, false, false, true, true, true, false)), (String
-    ((Ascii (true, true, false, false, true, true, true, false)), (String
-    ((Ascii (true, true, false, false, false, false, true, false)), (String
-    ((Ascii (true, true, true, true, false, true, true, false)), (String
-    ((Ascii (false, false, true, false, false, true, true, false)), (String
-    ((Ascii (true, false, true, false, false, true, true, false)),
-    EmptyString))))))))))))))))))))))))))))))))) :: ((SNum ((String ((Ascii
-    (true, false, true, false, false, false, true, false)), (String ((Ascii
-    (false, true, true, true, false, true, true, false)), (String ((Ascii
-    (false, false, true, false, true, true, true, false)), (String ((Ascii
-    (false, true, false, false, true, true, true, false)), (String ((Ascii
-    (true, false, false, true, true, true, true, false)), (String ((Ascii
-    (true, false, false, false, false, false, true, false)), (String ((Ascii
-    (false, false, true, false, false, true, true, false)), (String ((Ascii
-    (false, false, true, false, false, true, true, false)), (String ((Ascii
-    (true, false, true, false, false, true, true, false)), (String ((Ascii
-    (false, true, true, true, false, true, true, false)), (String ((Ascii
-    (false, false, true, false, false, true, true, false)), (String ((Ascii
-    (true, false, false, false, false, true, true, false)), (String ((Ascii
-    (true, true, false, false, false, false, true, false)), (String ((Ascii
-    (true, true, true, true, false, true, true, false)), (String ((Ascii
-    (true, false, true, false, true, true, true, false)), (String ((Ascii
-    (false, true, true, true, false, true, true, false)), (String ((Ascii
-    (false, false, true, false, true, true, true, false)),
-    EmptyString)))))))))))))))))))))))))))))))))), (S (S (S (S (S (S
-    O)))))))) :: ((SNum ((String ((Ascii (true, false, true, false, false,
-    false, true, false)), (String ((Ascii (false, true, true, true, false,
-    true, true, false)), (String ((Ascii (false, false, true, false, true,
-    true, true, false)), (String ((Ascii (false, true, false, false, true,
-    true, true, false)), (String ((Ascii (true, false, false, true, true,
-    true, true, false)), (String ((Ascii (false, false, false, true, false,
-    false, true, false)), (String ((Ascii (true, false, false, false, false,
-    true, true, false)), (String ((Ascii (true, true, false, false, true,
-    true, true, false)), (String ((Ascii (false, false, false, true, false,
-    true, true, false)), EmptyString)))))))))))))))))), (S (S (S (S (S (S (S
-    (S (S (S O)))))))))))) :: ((SNum ((String ((Ascii (false, false, true,
-    false, true, false, true, false)), (String ((Ascii (true, true, true,
-    true, false, true, true, false)), (String ((Ascii (false, false, true,
-    false, true, true, true, false)), (String ((Ascii (true, false, false,
-    false, false, true, true, false)), (String ((Ascii (false, false, true,
-    true, false, true, true, false)), (String ((Ascii (false, false, true,
-    false, false, false, true, false)), (String ((Ascii (true, false, true,
-    false, false, true, true, false)), (String ((Ascii (false, true, false,
-    false, false, true, true, false)), (String ((Ascii (true, false, false,
-    true, false, true, true, false)), (String ((Ascii (false, false, true,
-    false, true, true, true, false)), (String ((Ascii (true, false, true,
-    false, false, false, true, false)), (String ((Ascii (false, true, true,
-    true, false, true, true, false)), (String ((Ascii (false, false, true,
-    false, true, true, true, false)), (String ((Ascii (false, true, false,
-    false, true, true, true, false)), (String ((Ascii (true, false, false,
-    true, true, true, true, false)), (String ((Ascii (false, false, true,
-    false, false, false, true, false)), (String ((Ascii (true, true, true,
-    true, false, true, true, false)), (String ((Ascii (false, false, true,
-    true, false, true, true, false)), (String ((Ascii (false, false, true,
-    true, false, true, true, false)), (String ((Ascii (true, false, false,
-    false, false, true, true, false)), (String ((Ascii (false, true, false,
-    false, true, true, true, false)), (String ((Ascii (true, false, false,
-    false, false, false, true, false)), (String ((Ascii (true, false, true,
-    true, false, true, true, false)), (String ((Ascii (true, true, true,
-    true, false, true, true, false)), (String ((Ascii (true, false, true,
-    false, true, true, true, false)), (String ((Ascii (false, true, true,
-    true, false, true, true, false)), (String ((Ascii (false, false, true,
-    false, true, true, true, false)),
-    EmptyString)))))))))))))))))))))))))))))))))))))))))))))))))))))), (S (S
-    (S (S (S (S (S (S (S (S (S (S O)))))))))))))) :: ((SNum ((String ((Ascii
-    (false, false, true, false, true, false, true, false)), (String ((Ascii
-    (true, true, true, true, false, true, true, false)), (String ((Ascii
-    (false, false, true, false, true, true, true, false)), (String ((Ascii
-    (true, false, false, false, false, true, true, false)), (String ((Ascii
-    (false, false, true, true, false, true, true, false)), (String ((Ascii
-    (true, true, false, false, false, false, true, false)), (String ((Ascii
-    (false, true, false, false, true, true, true, false)), (String ((Ascii
-    (true, false, true, false, false, true, true, false)), (String ((Ascii
-    (false, false, true, false, false, true, true, false)), (String ((Ascii
-    (true, false, false, true, false, true, true, false)), (String ((Ascii
-    (false, false, true, false, true, true, true, false)), (String ((Ascii
-    (true, false, true, false, false, false, true, false)), (String ((Ascii
-    (false, true, true, true, false, true, true, false)), (String ((Ascii
-    (false, false, true, false, true, true, true, false)), (String ((Ascii
-    (false, true, false, false, true, true, true, false)), (String ((Ascii
-    (true, false, false, true, true, true, true, false)), (String ((Ascii
-    (false, false, true, false, false, false, true, false)), (String ((Ascii
-    (true, true, true, true, false, true, true, false)), (String ((Ascii
-    (false, false, true, true, false, true, true, false)), (String ((Ascii
-    (false, false, true, true, false, true, true, false)), (String ((Ascii
-    (true, false, false, false, false, true, true, false)), (String ((Ascii
-    (false, true, false, false, true, true, true, false)), (String ((Ascii
-    (true, false, false, false, false, false, true, false)), (String ((Ascii
-    (true, false, true, true, false, true, true, false)), (String ((Ascii
-    (true, true, true, true, false, true, true, false)), (String ((Ascii
-    (true, false, true, false, true, true, true, false)), (String ((Ascii
-    (false, true, true, true, false, true, true, false)), (String ((Ascii
-    (false, false, true, false, true, true, true, false)),
-    EmptyString)))))))))))))))))))))))))))))))))))))))))))))))))))))))), (S
-    (S (S (S (S (S (S (S (S (S (S (S O)))))))))))))) :: ((SAlpha ((String
-    ((Ascii (true, true, false, false, false, false, true, false)), (String
-    ((Ascii (true, true, true, true, false, true, true, false)), (String
-    ((Ascii (true, false, true, true, false, true, true, false)), (String
-    ((Ascii (false, false, false, false, true, true, true, false)), (String
-    ((Ascii (true, false, false, false, false, true, true, false)), (String
-    ((Ascii (false, true, true, true, false, true, true, false)), (String
-    ((Ascii (true, false, false, true, true, true, true, false)), (String
-    ((Ascii (true, false, false, true, false, false, true, false)), (String
-    ((Ascii (false, false, true, false, false, true, true, false)), (String
-    ((Ascii (true, false, true, false, false, true, true, false)), (String
-    ((Ascii (false, true, true, true, false, true, true, false)), (String
-    ((Ascii (false, false, true, false, true, true, true, false)), (String
-    ((Ascii (true, false, false, true, false, true, true, false)), (String
-    ((Ascii (false, true, true, false, false, true, true, false)), (String
-    ((Ascii (true, false, false, true, false, true, true, false)), (String
-    ((Ascii (true, true, false, false, false, true, true, false)), (String
-    ((Ascii (true, false, false, false, false, true, true, false)), (String
-    ((Ascii (false, false, true, false, true, true, true, false)), (String
-    ((Ascii (true, false, false, true, false, true, true, false)), (String
-    ((Ascii (true, true, true, true, false, true, true, false)), (String
-    ((Ascii (false, true, true, true, false, true, true, false)),
-    EmptyString)))))))))))))))))))))))))))))))))))))))))), (S (S (S (S (S (S
-    (S (S (S (S O)))))))))))) :: ((SAlpha ((String ((Ascii (true, false,
-    true, true, false, false, true, false)), (String ((Ascii (true, false,
-    true, false, false, true, true, false)), (String ((Ascii (true, true,
-    false, false, true, true, true, false)), (String ((Ascii (true, true,
-    false, false, true, true, true, false)), (String ((Ascii (true, false,
-    false, false, false, true, true, false)), (String ((Ascii (true, true,
-    true, false, false, true, true, false)), (String ((Ascii (true, false,
-    true, false, false, true, true, false)), (String ((Ascii (true, false,
-    false, false, false, false, true, false)), (String ((Ascii (true, false,
-    true, false, true, true, true, false)), (String ((Ascii (false, false,
-    true, false, true, true, true, false)), (String ((Ascii (false, false,
-    false, true, false, true, true, false)), (String ((Ascii (true, false,
-    true, false, false, true, true, false)), (String ((Ascii (false, true,
-    true, true, false, true, true, false)), (String ((Ascii (false, false,
-    true, false, true, true, true, false)), (String ((Ascii (true, false,
-    false, true, false, true, true, false)), (String ((Ascii (true, true,
-    false, false, false, true, true, false)), (String ((Ascii (true, false,
-    false, false, false, true, true, false)), (String ((Ascii (false, false,
-    true, false, true, true, true, false)), (String ((Ascii (true, false,
-    false, true, false, true, true, false)), (String ((Ascii (true, true,
-    true, true, false, true, true, false)), (String ((Ascii (false, true,
-    true, true, false, true, true, false)), (String ((Ascii (true, true,
-    false, false, false, false, true, false)), (String ((Ascii (true, true,
-    true, true, false, true, true, false)), (String ((Ascii (false, false,
-    true, false, false, true, true, false)), (String ((Ascii (true, false,
-    true, false, false, true, true, false)),
-    EmptyString)))))))))))))))))))))))))))))))))))))))))))))))))), (S (S (S
-    (S (S (S (S (S (S (S (S (S (S (S (S (S (S (S (S
-    O))))))))))))))))))))) :: ((SLit ((Npos (XO (XO (XO (XO (XO
-    XH)))))) :: ((Npos (XO (XO (XO (XO (XO XH)))))) :: ((Npos (XO (XO (XO (XO
-    (XO XH)))))) :: ((Npos (XO (XO (XO (XO (XO XH)))))) :: ((Npos (XO (XO (XO
-    (XO (XO XH)))))) :: ((Npos (XO (XO (XO (XO (XO
-    XH)))))) :: []))))))) :: ((SStr ((String ((Ascii (true, true, true, true,
-    false, false, true, false)), (String ((Ascii (false, false, true, false,
-    false, false, true, false)), (String ((Ascii (false, true, true, false,
-    false, false, true, false)), (String ((Ascii (true, false, false, true,
-    false, false, true, false)), (String ((Ascii (true, false, false, true,
-    false, false, true, false)), (String ((Ascii (false, false, true, false,
-    false, true, true, false)), (String ((Ascii (true, false, true, false,
-    false, true, true, false)), (String ((Ascii (false, true, true, true,
-    false, true, true, false)), (String ((Ascii (false, false, true, false,
-    true, true, true, false)), (String ((Ascii (true, false, false, true,
-    false, true, true, false)), (String ((Ascii (false, true, true, false,
-    false, true, true, false)), (String ((Ascii (true, false, false, true,
-    false, true, true, false)), (String ((Ascii (true, true, false, false,
-    false, true, true, false)), (String ((Ascii (true, false, false, false,
-    false, true, true, false)), (String ((Ascii (false, false, true, false,
-    true, true, true, false)), (String ((Ascii (true, false, false, true,
-    false, true, true, false)), (String ((Ascii (true, true, true, true,
-    false, true, true, false)), (String ((Ascii (false, true, true, true,
-    false, true, true, false)),
-    EmptyString)))))))))))))))))))))))))))))))))))), (S (S (S (S (S (S (S (S
-    O)))))))))) :: ((SNum ((String ((Ascii (false, true, false, false, false,
-    false, true, false)), (String ((Ascii (true, false, false, false, false,
-    true, true, false)), (String ((Ascii (false, false, true, false, true,
-    true, true, false)), (String ((Ascii (true, true, false, false, false,
-    true, true, false)), (String ((Ascii (false, false, false, true, false,
-    true, true, false)), (String ((Ascii (false, true, true, true, false,
-    false, true, false)), (String ((Ascii (true, false, true, false, true,
-    true, true, false)), (String ((Ascii (true, false, true, true, false,
-    true, true, false)), (String ((Ascii (false, true, false, false, false,
-    true, true, false)), (String ((Ascii (true, false, true, false, false,
-    true, true, false)), (String ((Ascii (false, true, false, false, true,
-    true, true, false)), EmptyString)))))))))))))))))))))), (S (S (S (S (S (S
-    (S O))))))))) :: []))))))))))); l_cuts =
-    ((mkcut (S O) (S (S (S (S O)))) (String ((Ascii (true, true, false,
-       false, true, false, true, false)), (String ((Ascii (true, false, true,
-       false, false, true, true, false)), (String ((Ascii (false, true,
-       false, false, true, true, true, false)), (String ((Ascii (false, true,
-       true, false, true, true, true, false)), (String ((Ascii (true, false,
-       false, true, false, true, true, false)), (String ((Ascii (true, true,
-       false, false, false, true, true, false)), (String ((Ascii (true,
-       false, true, false, false, true, true, false)), (String ((Ascii (true,
-       true, false, false, false, false, true, false)), (String ((Ascii
-       (false, false, true, true, false, true, true, false)), (String ((Ascii
-       (true, false, false, false, false, true, true, false)), (String
-       ((Ascii (true, true, false, false, true, true, true, false)), (String
-       ((Ascii (true, true, false, false, true, true, true, false)), (String
-       ((Ascii (true, true, false, false, false, false, true, false)),
-       (String ((Ascii (true, true, true, true, false, true, true, false)),
-       (String ((Ascii (false, false, true, false, false, true, true,
-       false)), (String ((Ascii (true, false, true, false, false, true, true,
-       false)), EmptyString)))))))))))))))))))))))))))))))) ((String ((Ascii
-       (false, false, false, false, true, true, true, false)), (String
-       ((Ascii (true, false, false, false, false, true, true, false)),
-       (String ((Ascii (false, true, false, false, true, true, true, false)),
-       (String ((Ascii (true, true, false, false, true, true, true, false)),
-       (String ((Ascii (true, false, true, false, false, true, true, false)),
-       (String ((Ascii (false, true, true, true, false, false, true, false)),
-       (String ((Ascii (true, false, true, false, true, true, true, false)),
-       (String ((Ascii (true, false, true, true, false, true, true, false)),
-       (String ((Ascii (false, true, true, false, false, false, true,
-       false)), (String ((Ascii (true, false, false, true, false, true, true,
-       false)), (String ((Ascii (true, false, true, false, false, true, true,
-       false)), (String ((Ascii (false, false, true, true, false, true, true,
-       false)), (String ((Ascii (false, false, true, false, false, true,
-       true, false)), EmptyString)))))))))))))))))))))))))) :: [])) :: (
-    (mkcut (S (S (S (S O)))) (S (S (S (S (S (S (S (S (S (S O))))))))))
-      (String ((Ascii (true, false, true, false, false, false, true, false)),
-      (String ((Ascii (false, true, true, true, false, true, true, false)),
-      (String ((Ascii (false, false, true, false, true, true, true, false)),
-      (String ((Ascii (false, true, false, false, true, true, true, false)),
-      (String ((Ascii (true, false, false, true, true, true, true, false)),
-      (String ((Ascii (true, false, false, false, false, false, true,
-      false)), (String ((Ascii (false, false, true, false, false, true, true,
-      false)), (String ((Ascii (false, false, true, false, false, true, true,
-      false)), (String ((Ascii (true, false, true, false, false, true, true,
-      false)), (String ((Ascii (false, true, true, true, false, true, true,
-      false)), (String ((Ascii (false, false, true, false, false, true, true,
-      false)), (String ((Ascii (true, false, false, false, false, true, true,
-      false)), (String ((Ascii (true, true, false, false, false, false, true,
-      false)), (String ((Ascii (true, true, true, true, false, true, true,
-      false)), (String ((Ascii (true, false, true, false, true, true, true,
-      false)), (String ((Ascii (false, true, true, true, false, true, true,
-      false)), (String ((Ascii (false, false, true, false, true, true, true,
-      false)), EmptyString)))))))))))))))))))))))))))))))))) ((String ((Ascii
-      (false, false, false, false, true, true, true, false)), (String ((Ascii
-      (true, false, false, false, false, true, true, false)), (String ((Ascii
-      (false, true, false, false, true, true, true, false)), (String ((Ascii
-      (true, true, false, false, true, true, true, false)), (String ((Ascii
-      (true, false, true, false, false, true, true, false)), (String ((Ascii
-      (false, true, true, true, false, false, true, false)), (String ((Ascii
-      (true, false, true, false, true, true, true, false)), (String ((Ascii
-      (true, false, true, true, false, true, true, false)), (String ((Ascii
-      (false, true, true, false, false, false, true, false)), (String ((Ascii
-      (true, false, false, true, false, true, true, false)), (String ((Ascii
-      (true, false, true, false, false, true, true, false)), (String ((Ascii
-      (false, false, true, true, false, true, true, false)), (String ((Ascii
-      (false, false, true, false, false, true, true, false)),
-      EmptyString)))))))))))))))))))))))))) :: [])) :: ((mkcut (S (S (S (S (S
-                                                          (S (S (S (S (S
-                                                          O)))))))))) (S (S
-                                                          (S (S (S (S (S (S
-                                                          (S (S (S (S (S (S
-                                                          (S (S (S (S (S (S
-                                                          O))))))))))))))))))))
-                                                          (String ((Ascii
-                                                          (true, false, true,
-                                                          false, false,
-                                                          false, true,
-                                                          false)), (String
-                                                          ((Ascii (false,
-                                                          true, true, true,
-                                                          false, true, true,
-                                                          false)), (String
-                                                          ((Ascii (false,
-                                                          false, true, false,
-                                                          true, true, true,
-                                                          false)), (String
-                                                          ((Ascii (false,
-                                                          true, false, false,
-                                                          true, true, true,
-                                                          false)), (String
-                                                          ((Ascii (true,
-                                                          false, false, true,
-                                                          true, true, true,
-                                                          false)), (String
-                                                          ((Ascii (false,
-                                                          false, false, true,
-                                                          false, false, true,
-                                                          false)), (String
-                                                          ((Ascii (true,
-                                                          false, false,
-                                                          false, false, true,
-                                                          true, false)),
-                                                          (String ((Ascii
-                                                          (true, true, false,
-                                                          false, true, true,
-                                                          true, false)),
-                                                          (String ((Ascii
-                                                          (false, false,
-                                                          false, true, false,
-                                                          true, true,
-                                                          false)),
-                                                          EmptyString))))))))))))))))))
-                                                          ((String ((Ascii
-                                                          (false, false,
-                                                          false, false, true,
-                                                          true, true,
-                                                          false)), (String
-                                                          ((Ascii (true,
-                                                          false, false,
-                                                          false, false, true,
-                                                          true, false)),
-                                                          (String ((Ascii
-                                                          (false, true,
-                                                          false, false, true,
-                                                          true, true,
-                                                          false)), (String
-                                                          ((Ascii (true,
-                                                          true, false, false,
-                                                          true, true, true,
-                                                          false)), (String
-                                                          ((Ascii (true,
-                                                          false, true, false,
-                                                          false, true, true,
-                                                          false)), (String
-                                                          ((Ascii (false,
-                                                          true, true, true,
-                                                          false, false, true,
-                                                          false)), (String
-                                                          ((Ascii (true,
-                                                          false, true, false,
-                                                          true, true, true,
-                                                          false)), (String
-                                                          ((Ascii (true,
-                                                          false, true, true,
-                                                          false, true, true,
-                                                          false)), (String
-                                                          ((Ascii (false,
-                                                          true, true, false,
-                                                          false, false, true,
-                                                          false)), (String
-                                                          ((Ascii (true,
-                                                          false, false, true,
-                                                          false, true, true,
-                                                          false)), (String
-                                                          ((Ascii (true,
-                                                          false, true, false,
-                                                          false, true, true,
-                                                          false)), (String
-                                                          ((Ascii (false,
-                                                          false, true, true,
-                                                          false, true, true,
-                                                          false)), (String
-                                                          ((Ascii (false,
-                                                          false, true, false,
-                                                          false, true, true,
-                                                          false)),
-                                                          EmptyString)))))))))))))))))))))))))) :: [])) :: (
-    (mkcut (S (S (S (S (S (S (S (S (S (S (S (S (S (S (S (S (S (S (S (S
-      O)))))))))))))))))))) (S (S (S (S (S (S (S (S (S (S (S (S (S (S (S (S
-      (S (S (S (S (S (S (S (S (S (S (S (S (S (S (S (S
-      O)))))))))))))))))))))))))))))))) (String ((Ascii (false, false, true,
-      false, true, false, true, false)), (String ((Ascii (true, true, true,
-      true, false, true, true, false)), (String ((Ascii (false, false, true,
-      false, true, true, true, false)), (String ((Ascii (true, false, false,
-      false, false, true, true, false)), (String ((Ascii (false, false, true,
-      true, false, true, true, false)), (String ((Ascii (false, false, true,
-      false, false, false, true, false)), (String ((Ascii (true, false, true,
-      false, false, true, true, false)), (String ((Ascii (false, true, false,
-      false, false, true, true, false)), (String ((Ascii (true, false, false,
-      true, false, true, true, false)), (String ((Ascii (false, false, true,
-      false, true, true, true, false)), (String ((Ascii (true, false, true,
-      false, false, false, true, false)), (String ((Ascii (false, true, true,
-      true, false, true, true, false)), (String ((Ascii (false, false, true,
-      false, true, true, true, false)), (String ((Ascii (false, true, false,
-      false, true, true, true, false)), (String ((Ascii (true, false, false,
-      true, true, true, true, false)), (String ((Ascii (false, false, true,
-      false, false, false, true, false)), (String ((Ascii (true, true, true,
-      true, false, true, true, false)), (String ((Ascii (false, false, true,
-      true, false, true, true, false)), (String ((Ascii (false, false, true,
-      true, false, true, true, false)), (String ((Ascii (true, false, false,
-      false, false, true, true, false)), (String ((Ascii (false, true, false,
-      false, true, true, true, false)), (String ((Ascii (true, false, false,
-      false, false, false, true, false)), (String ((Ascii (true, false, true,
-      true, false, true, true, false)), (String ((Ascii (true, true, true,
-      true, false, true, true, false)), (String ((Ascii (true, false, true,
-      false, true, true, true, false)), (String ((Ascii (false, true, true,
-      true, false, true, true, false)), (String ((Ascii (false, false, true,
-      false, true, true, true, false)),
-      EmptyString))))))))))))))))))))))))))))))))))))))))))))))))))))))
-      ((String ((Ascii (false, false, false, false, true, true, true,
-      false)), (String ((Ascii (true, false, false, false, false, true, true,
-      false)), (String ((Ascii (false, true, false, false, true, true, true,
-      false)), (String ((Ascii (true, true, false, false, true, true, true,
-      false)), (String ((Ascii (true, false, true, false, false, true, true,
-      false)), (String ((Ascii (false, true, true, true, false, false, true,
-      false)), (String ((Ascii (true, false, true, false, true, true, true,
-      false)), (String ((Ascii (true, false, true, true, false, true, true,
-      false)), (String ((Ascii (false, true, true, false, false, false, true,
-      false)), (String ((Ascii (true, false, false, true, false, true, true,
-      false)), (String ((Ascii (true, false, true, false, false, true, true,
-      false)), (String ((Ascii (false, false, true, true, false, true, true,
-      false)), (String ((Ascii (false, false, true, false, false, true, true,
-      false)), EmptyString)))))))))))))))))))))))))) :: [])) :: ((mkcut (S (S
-                                                                   (S (S (S
-                                                                   (S (S (S
-                                                                   (S (S (S
-                                                                   (S (S (S
-                                                                   (S (S (S
-                                                                   (S (S (S
-                                                                   (S (S (S
-                                                                   (S (S (S
-                                                                   (S (S (S
-                                                                   (S (S (S
-                                                                   O))))))))))))))))))))))))))))))))
-                                                                   (S (S (S
-                                                                   (S (S (S
-                                                                   (S (S (S
-                                                                   (S (S (S
-                                                                   (S (S (S
-                                                                   (S (S (S
-                                                                   (S (S (S
-                                                                   (S (S (S
-                                                                   (S (S (S
-                                                                   (S (S (S
-                                                                   (S (S (S
-                                                                   (S (S (S
-                                                                   (S (S (S
-                                                                   (S (S (S
-                                                                   (S (S
-                                                                   O))))))))))))))))))))))))))))))))))))))))))))
-                                                                   (String
-                                                                   ((Ascii
-                                                                   (false,
-                                                                   false,
-                                                                   true,
-                                                                   false,
-                                                                   true,
-                                                                   false,
-                                                                   true,
-                                                                   false)),
-                                                                   (String
-                                                                   ((Ascii
-                                                                   (true,
-                                                                   true,
-                                                                   true,
-                                                                   true,
-                                                                   false,
-                                                                   true,
-                                                                   true,
-                                                                   false)),
-                                                                   (String
-                                                                   ((Ascii
-                                                                   (false,
-                                                                   false,
-                                                                   true,
-                                                                   false,
-                                                                   true,
-                                                                   true,
-                                                                   true,
-                                                                   false)),
-                                                                   (String
-                                                                   ((Ascii
-                                                                   (true,
-                                                                   false,
-                                                                   false,
-                                                                   false,
-                                                                   false,
-                                                                   true,
-                                                                   true,
-                                                                   false)),
-                                                                   (String
-                                                                   ((Ascii
-                                                                   (false,
-                                                                   false,
-                                                                   true,
-                                                                   true,
-                                                                   false,
-                                                                   true,
-                                                                   true,
-                                                                   false)),
-                                                                   (String
-                                                                   ((Ascii
-                                                                   (true,
-                                                                   true,
-                                                                   false,
-                                                                   false,
-                                                                   false,
-                                                                   false,
-                                                                   true,
-                                                                   false)),
-                                                                   (String
-                                                                   ((Ascii
-                                                                   (false,
-                                                                   true,
-                                                                   false,
-                                                                   false,
-                                                                   true,
-                                                                   true,
-                                                                   true,
-                                                                   false)),
-                                                                   (String
-                                                                   ((Ascii
-                                                                   (true,
-                                                                   false,
-                                                                   true,
-                                                                   false,
-                                                                   false,
-                                                                   true,
-                                                                   true,
-                                                                   false)),
-                                                                   (String
-                                                                   ((Ascii
-                                                                   (false,
-                                                                   false,
-                                                                   true,
-                                                                   false,
-                                                                   false,
-                                                                   true,
-                                                                   true,
-                                                                   false)),
-                                                                   (String
-                                                                   ((Ascii
-                                                                   (true,
-                                                                   false,
-                                                                   false,
-                                                                   true,
-                                                                   false,
-                                                                   true,
-                                                                   true,
-                                                                   false)),
-                                                                   (String
-                                                                   ((Ascii
-                                                                   (false,
-                                                                   false,
-                                                                   true,
-                                                                   false,
-                                                                   true,
-                                                                   true,
-                                                                   true,
-                                                                   false)),
-                                                                   (String
-                                                                   ((Ascii
-                                                                   (true,
-                                                                   false,
-                                                                   true,
-                                                                   false,
-                                                                   false,
-                                                                   false,
-                                                                   true,
-                                                                   false)),
-                                                                   (String
-                                                                   ((Ascii
-                                                                   (false,
-                                                                   true,
-                                                                   true,
-                                                                   true,
-                                                                   false,
-                                                                   true,
-                                                                   true,
-                                                                   false)),
-                                                                   (String
-                                                                   ((Ascii
-                                                                   (false,
-                                                                   false,
-                                                                   true,
-                                                                   false,
-                                                                   true,
-                                                                   true,
-                                                                   true,
-                                                                   false)),
-                                                                   (String
-                                                                   ((Ascii
-                                                                   (false,
-                                                                   true,
-                                                                   false,
-                                                                   false,
-                                                                   true,
-                                                                   true,
-                                                                   true,
-                                                                   false)),
-                                                                   (String
-                                                                   ((Ascii
-                                                                   (true,
-                                                                   false,
-                                                                   false,
-                                                                   true,
-                                                                   true,
-                                                                   true,
-                                                                   true,
-                                                                   false)),
-                                                                   (String
-                                                                   ((Ascii
-                                                                   (false,
-                                                                   false,
-                                                                   true,
-                                                                   false,
-                                                                   false,
-                                                                   false,
-                                                                   true,
-                                                                   false)),
-                                                                   (String
-                                                                   ((Ascii
-                                                                   (true,
-                                                                   true,
-                                                                   true,
-                                                                   true,
-                                                                   false,
-                                                                   true,
-                                                                   true,
-                                                                   false)),
-                                                                   (String
-                                                                   ((Ascii
-                                                                   (false,
-                                                                   false,
-                                                                   true,
-                                                                   true,
-                                                                   false,
-                                                                   true,
-                                                                   true,
-                                                                   false)),
-                                                                   (String
-                                                                   ((Ascii
-                                                                   (false,
-                                                                   false,
-                                                                   true,
-                                                                   true,
-                                                                   false,
-                                                                   true,
-                                                                   true,
-                                                                   false)),
-                                                                   (String
-                                                                   ((Ascii
-                                                                   (true,
-                                                                   false,
-                                                                   false,
-                                                                   false,
-                                                                   false,
-                                                                   true,
-                                                                   true,
-                                                                   false)),
-                                                                   (String
-                                                                   ((Ascii
-                                                                   (false,
-                                                                   true,
-                                                                   false,
-                                                                   false,
-                                                                   true,
-                                                                   true,
-                                                                   true,
-                                                                   false)),
-                                                                   (String
-                                                                   ((Ascii
-                                                                   (true,
-                                                                   false,
-                                                                   false,
-                                                                   false,
-                                                                   false,
-                                                                   false,
-                                                                   true,
-                                                                   false)),
-                                                                   (String
-                                                                   ((Ascii
-                                                                   (true,
-                                                                   false,
-                                                                   true,
-                                                                   true,
-                                                                   false,
-                                                                   true,
-                                                                   true,
-                                                                   false)),
-                                                                   (String
-                                                                   ((Ascii
-                                                                   (true,
-                                                                   true,
-                                                                   true,
-                                                                   true,
-                                                                   false,
-                                                                   true,
-                                                                   true,
-                                                                   false)),
-                                                                   (String
-                                                                   ((Ascii
-                                                                   (true,
-                                                                   false,
-                                                                   true,
-                                                                   false,
-                                                                   true,
-                                                                   true,
-                                                                   true,
-                                                                   false)),
-                                                                   (String
-                                                                   ((Ascii
-                                                                   (false,
-                                                                   true,
-                                                                   true,
-                                                                   true,
-                                                                   false,
-                                                                   true,
-                                                                   true,
-                                                                   false)),
-                                                                   (String
-                                                                   ((Ascii
-                                                                   (false,
-                                                                   false,
-                                                                   true,
-                                                                   false,
-                                                                   true,
-                                                                   true,
-                                                                   true,
-                                                                   false)),
-                                                                   EmptyString))))))))))))))))))))))))))))))))))))))))))))))))))))))))
-                                                                   ((String
-                                                                   ((Ascii
-                                                                   (false,
-                                                                   false,
-                                                                   false,
-                                                                   false,
-                                                                   true,
-                                                                   true,
-                                                                   true,
-                                                                   false)),
-                                                                   (String
-                                                                   ((Ascii
-                                                                   (true,
-                                                                   false,
-                                                                   false,
-                                                                   false,
-                                                                   false,
-                                                                   true,
-                                                                   true,
-                                                                   false)),
-                                                                   (String
-                                                                   ((Ascii
-                                                                   (false,
-                                                                   true,
-                                                                   false,
-                                                                   false,
-                                                                   true,
-                                                                   true,
-                                                                   true,
-                                                                   false)),
-                                                                   (String
-                                                                   ((Ascii
-                                                                   (true,
-                                                                   true,
-                                                                   false,
-                                                                   false,
-                                                                   true,
-                                                                   true,
-                                                                   true,
-                                                                   false)),
-                                                                   (String
-                                                                   ((Ascii
-                                                                   (true,
-                                                                   false,
-                                                                   true,
-                                                                   false,
-                                                                   false,
-                                                                   true,
-                                                                   true,
-                                                                   false)),
-                                                                   (String
-                                                                   ((Ascii
-                                                                   (false,
-                                                                   true,
-                                                                   true,
-                                                                   true,
-                                                                   false,
-                                                                   false,
-                                                                   true,
-                                                                   false)),
-                                                                   (String
-                                                                   ((Ascii
-                                                                   (true,
-                                                                   false,
-                                                                   true,
-                                                                   false,
-                                                                   true,
-                                                                   true,
-                                                                   true,
-                                                                   false)),
-                                                                   (String
-                                                                   ((Ascii
-                                                                   (true,
-                                                                   false,
-                                                                   true,
-                                                                   true,
-                                                                   false,
-                                                                   true,
-                                                                   true,
-                                                                   false)),
-                                                                   (String
-                                                                   ((Ascii
-                                                                   (false,
-                                                                   true,
-                                                                   true,
-                                                                   false,
-                                                                   false,
-                                                                   false,
-                                                                   true,
-                                                                   false)),
-                                                                   (String
-                                                                   ((Ascii
-                                                                   (true,
-                                                                   false,
-                                                                   false,
-                                                                   true,
-                                                                   false,
-                                                                   true,
-                                                                   true,
-                                                                   false)),
-                                                                   (String
-                                                                   ((Ascii
-                                                                   (true,
-                                                                   false,
-                                                                   true,
-                                                                   false,
-                                                                   false,
-                                                                   true,
-                                                                   true,
-                                                                   false)),
-                                                                   (String
-                                                                   ((Ascii
-                                                                   (false,
-                                                                   false,
-                                                                   true,
-                                                                   true,
-                                                                   false,
-                                                                   true,
-                                                                   true,
-                                                                   false)),
-                                                                   (String
-                                                                   ((Ascii
-                                                                   (false,
-                                                                   false,
-                                                                   true,
-                                                                   false,
-                                                                   false,
-                                                                   true,
-                                                                   true,
-                                                                   false)),
-                                                                   EmptyString)))))))))))))))))))))))))) :: [])) :: (
-    (mkcut (S (S (S (S (S (S (S (S (S (S (S (S (S (S (S (S (S (S (S (S (S (S
-      (S (S (S (S (S (S (S (S (S (S (S (S (S (S (S (S (S (S (S (S (S (S
-      O)))))))))))))))))))))))))))))))))))))))))))) (S (S (S (S (S (S (S (S
-      (S (S (S (S (S (S (S (S (S (S (S (S (S (S (S (S (S (S (S (S (S (S (S (S
-      (S (S (S (S (S (S (S (S (S (S (S (S (S (S (S (S (S (S (S (S (S (S
-      O)))))))))))))))))))))))))))))))))))))))))))))))))))))) (String ((Ascii
-      (true, true, false, false, false, false, true, false)), (String ((Ascii
-      (true, true, true, true, false, true, true, false)), (String ((Ascii
-      (true, false, true, true, false, true, true, false)), (String ((Ascii
-      (false, false, false, false, true, true, true, false)), (String ((Ascii
-      (true, false, false, false, false, true, true, false)), (String ((Ascii
-      (false, true, true, true, false, true, true, false)), (String ((Ascii
-      (true, false, false, true, true, true, true, false)), (String ((Ascii
-      (true, false, false, true, false, false, true, false)), (String ((Ascii
-      (false, false, true, false, false, true, true, false)), (String ((Ascii
-      (true, false, true, false, false, true, true, false)), (String ((Ascii
-      (false, true, true, true, false, true, true, false)), (String ((Ascii
-      (false, false, true, false, true, true, true, false)), (String ((Ascii
-      (true, false, false, true, false, true, true, false)), (String ((Ascii
-      (false, true, true, false, false, true, true, false)), (String ((Ascii
-      (true, false, false, true, false, true, true, false)), (String ((Ascii
-      (true, true, false, false, false, true, true, false)), (String ((Ascii
-      (true, false, false, false, false, true, true, false)), (String ((Ascii
-      (false, false, true, false, true, true, true, false)), (String ((Ascii
-      (true, false, false, true, false, true, true, false)), (String ((Ascii
-      (true, true, true, true, false, true, true, false)), (String ((Ascii
-      (false, true, true, true, false, true, true, false)),
-      EmptyString)))))))))))))))))))))))))))))))))))))))))) ((String ((Ascii
-      (false, false, false, false, true, true, true, false)), (String ((Ascii
-      (true, false, false, false, false, true, true, false)), (String ((Ascii
-      (false, true, false, false, true, true, true, false)), (String ((Ascii
-      (true, true, false, false, true, true, true, false)), (String ((Ascii
-      (true, false, true, false, false, true, true, false)), (String ((Ascii
-      (true, true, false, false, true, false, true, false)), (String ((Ascii
-      (false, false, true, false, true, true, true, false)), (String ((Ascii
-      (false, true, false, false, true, true, true, false)), (String ((Ascii
-      (true, false, false, true, false, true, true, false)), (String ((Ascii
-      (false, true, true, true, false, true, true, false)), (String ((Ascii
-      (true, true, true, false, false, true, true, false)), (String ((Ascii
-      (false, true, true, false, false, false, true, false)), (String ((Ascii
-      (true, false, false, true, false, true, true, false)), (String ((Ascii
-      (true, false, true, false, false, true, true, false)), (String ((Ascii
-      (false, false, true, true, false, true, true, false)), (String ((Ascii
-      (false, false, true, false, false, true, true, false)), (String ((Ascii
-      (true, true, true, false, true, false, true, false)), (String ((Ascii
-      (true, false, false, true, false, true, true, false)), (String ((Ascii
-      (false, false, true, false, true, true, true, false)), (String ((Ascii
-      (false, false, false, true, false, true, true, false)), (String ((Ascii
-      (true, true, true, true, false, false, true, false)), (String ((Ascii
-      (false, false, false, false, true, true, true, false)), (String ((Ascii
-      (false, false, true, false, true, true, true, false)), (String ((Ascii
-      (true, true, false, false, true, true, true, false)),
-      EmptyString)))))))))))))))))))))))))))))))))))))))))))))))) :: [])) :: (
-    (mkcut (S (S (S (S (S (S (S (S (S (S (S (S (S (S (S (S (S (S (S (S (S (S
-      (S (S (S (S (S (S (S (S (S (S (S (S (S (S (S (S (S (S (S (S (S (S (S (S
-      (S (S (S (S (S (S (S (S
-      O)))))))))))))))))))))))))))))))))))))))))))))))))))))) (S (S (S (S (S
-      (S (S (S (S (S (S (S (S (S (S (S (S (S (S (S (S (S (S (S (S (S (S (S (S
-      (S (S (S (S (S (S (S (S (S (S (S (S (S (S (S (S (S (S (S (S (S (S (S (S
-      (S (S (S (S (S (S (S (S (S (S (S (S (S (S (S (S (S (S (S (S
-      O)))))))))))))))))))))))))))))))))))))))))))))))))))))))))))))))))))))))))
-      (String ((Ascii (true, false, true, true, false, false, true, false)),
-      (String ((Ascii (true, false, true, false, false, true, true, false)),
-      (String ((Ascii (true, true, false, false, true, true, true, false)),
-      (String ((Ascii (true, true, false, false, true, true, true, false)),
-      (String ((Ascii (true, false, false, false, false, true, true, false)),
-      (String ((Ascii (true, true, true, false, false, true, true, false)),
-      (String ((Ascii (true, false, true, false, false, true, true, false)),
-      (String ((Ascii (true, false, false, false, false, false, true,
-      false)), (String ((Ascii (true, false, true, false, true, true, true,
-      false)), (String ((Ascii (false, false, true, false, true, true, true,
-      false)), (String ((Ascii (false, false, false, true, false, true, true,
-      false)), (String ((Ascii (true, false, true, false, false, true, true,
-      false)), (String ((Ascii (false, true, true, true, false, true, true,
-      false)), (String ((Ascii (false, false, true, false, true, true, true,
-      false)), (String ((Ascii (true, false, false, true, false, true, true,
-      false)), (String ((Ascii (true, true, false, false, false, true, true,
-      false)), (String ((Ascii (true, false, false, false, false, true, true,
-      false)), (String ((Ascii (false, false, true, false, true, true, true,
-      false)), (String ((Ascii (true, false, false, true, false, true, true,
-      false)), (String ((Ascii (true, true, true, true, false, true, true,
-      false)), (String ((Ascii (false, true, true, true, false, true, true,
-      false)), (String ((Ascii (true, true, false, false, false, false, true,
-      false)), (String ((Ascii (true, true, true, true, false, true, true,
-      false)), (String ((Ascii (false, false, true, false, false, true, true,
-      false)), (String ((Ascii (true, false, true, false, false, true, true,
-      false)), EmptyString))))))))))))))))))))))))))))))))))))))))))))))))))
-      ((String ((Ascii (false, false, false, false, true, true, true,
-      false)), (String ((Ascii (true, false, false, false, false, true, true,
-      false)), (String ((Ascii (false, true, false, false, true, true, true,
-      false)), (String ((Ascii (true, true, false, false, true, true, true,
-      false)), (String ((Ascii (true, false, true, false, false, true, true,
-      false)), (String ((Ascii (true, true, false, false, true, false, true,
-      false)), (String ((Ascii (false, false, true, false, true, true, true,
-      false)), (String ((Ascii (false, true, false, false, true, true, true,
-      false)), (String ((Ascii (true, false, false, true, false, true, true,
-      false)), (String ((Ascii (false, true, true, true, false, true, true,
-      false)), (String ((Ascii (true, true, true, false, false, true, true,
-      false)), (String ((Ascii (false, true, true, false, false, false, true,
-      false)), (String ((Ascii (true, false, false, true, false, true, true,
-      false)), (String ((Ascii (true, false, true, false, false, true, true,
-      false)), (String ((Ascii (false, false, true, true, false, true, true,
-      false)), (String ((Ascii (false, false, true, false, false, true, true,
-      false)), (String ((Ascii (true, true, true, false, true, false, true,
-      false)), (String ((Ascii (true, false, false, true, false, true, true,
-      false)), (String ((Ascii (false, false, true, false, true, true, true,
-      false)), (String ((Ascii (false, false, false, true, false, true, true,
-      false)), (String ((Ascii (true, true, true, true, false, false, true,
-      false)), (String ((Ascii (false, false, false, false, true, true, true,
-      false)), (String ((Ascii (false, false, true, false, true, true, true,
-      false)), (String ((Ascii (true, true, false, false, true, true, true,
-      false)),
-      EmptyString)))))))))))))))))))))))))))))))))))))))))))))))) :: [])) :: (
-    (mkcut (S (S (S (S (S (S (S (S (S (S (S (S (S (S (S (S (S (S (S (S (S (S
-      (S (S (S (S (S (S (S (S (S (S (S (S (S (S (S (S (S (S (S (S (S (S (S (S
-      (S (S (S (S (S (S (S (S (S (S (S (S (S (S (S (S (S (S (S (S (S (S (S (S
-      (S (S (S (S (S (S (S (S (S
-      O)))))))))))))))))))))))))))))))))))))))))))))))))))))))))))))))))))))))))))))))
-      (S (S (S (S (S (S (S (S (S (S (S (S (S (S (S (S (S (S (S (S (S (S (S (S
-      (S (S (S (S (S (S (S (S (S (S (S (S (S (S (S (S (S (S (S (S (S (S (S (S
-      (S (S (S (S (S (S (S (S (S (S (S (S (S (S (S (S (S (S (S (S (S (S (S (S
-      (S (S (S (S (S (S (S (S (S (S (S (S (S (S (S
-      O)))))))))))))))))))))))))))))))))))))))))))))))))))))))))))))))))))))))))))))))))))))))
-      (String ((Ascii (true, true, true, true, false, false, true, false)),
-      (String ((Ascii (false, false, true, false, false, false, true,
-      false)), (String ((Ascii (false, true, true, false, false, false, true,
-      false)), (String ((Ascii (true, false, false, true, false, false, true,
-      false)), (String ((Ascii (true, false, false, true, false, false, true,
-      false)), (String ((Ascii (false, false, true, false, false, true, true,
-      false)), (String ((Ascii (true, false, true, false, false, true, true,
-      false)), (String ((Ascii (false, true, true, true, false, true, true,
-      false)), (String ((Ascii (false, false, true, false, true, true, true,
-      false)), (String ((Ascii (true, false, false, true, false, true, true,
-      false)), (String ((Ascii (false, true, true, false, false, true, true,
-      false)), (String ((Ascii (true, false, false, true, false, true, true,
-      false)), (String ((Ascii (true, true, false, false, false, true, true,
-      false)), (String ((Ascii (true, false, false, false, false, true, true,
-      false)), (String ((Ascii (false, false, true, false, true, true, true,
-      false)), (String ((Ascii (true, false, false, true, false, true, true,
-      false)), (String ((Ascii (true, true, true, true, false, true, true,
-      false)), (String ((Ascii (false, true, true, true, false, true, true,
-      false)), EmptyString)))))))))))))))))))))))))))))))))))) ((String
-      ((Ascii (false, false, false, false, true, true, true, false)), (String
-      ((Ascii (true, false, false, false, false, true, true, false)), (String
-      ((Ascii (false, true, false, false, true, true, true, false)), (String
-      ((Ascii (true, true, false, false, true, true, true, false)), (String
-      ((Ascii (true, false, true, false, false, true, true, false)), (String
-      ((Ascii (true, true, false, false, true, false, true, false)), (String
-      ((Ascii (false, false, true, false, true, true, true, false)), (String
-      ((Ascii (false, true, false, false, true, true, true, false)), (String
-      ((Ascii (true, false, false, true, false, true, true, false)), (String
-      ((Ascii (false, true, true, true, false, true, true, false)), (String
-      ((Ascii (true, true, true, false, false, true, true, false)), (String
-      ((Ascii (false, true, true, false, false, false, true, false)), (String
-      ((Ascii (true, false, false, true, false, true, true, false)), (String
-      ((Ascii (true, false, true, false, false, true, true, false)), (String
-      ((Ascii (false, false, true, true, false, true, true, false)), (String
-      ((Ascii (false, false, true, false, false, true, true, false)), (String
-      ((Ascii (true, true, true, false, true, false, true, false)), (String
-      ((Ascii (true, false, false, true, false, true, true, false)), (String
-      ((Ascii (false, false, true, false, true, true, true, false)), (String
-      ((Ascii (false, false, false, true, false, true, true, false)), (String
-      ((Ascii (true, true, true, true, false, false, true, false)), (String
-      ((Ascii (false, false, false, false, true, true, true, false)), (String
-      ((Ascii (false, false, true, false, true, true, true, false)), (String
-      ((Ascii (true, true, false, false, true, true, true, false)),
-      EmptyString)))))))))))))))))))))))))))))))))))))))))))))))) :: [])) :: (
-    (mkcut (S (S (S (S (S (S (S (S (S (S (S (S (S (S (S (S (S (S (S (S (S (S
-      (S (S (S (S (S (S (S (S (S (S (S (S (S (S (S (S (S (S (S (S (S (S (S (S
-      (S (S (S (S (S (S (S (S (S (S (S (S (S (S (S (S (S (S (S (S (S (S (S (S
-      (S (S (S (S (S (S (S (S (S (S (S (S (S (S (S (S (S
-      O)))))))))))))))))))))))))))))))))))))))))))))))))))))))))))))))))))))))))))))))))))))))
-      (S (S (S (S (S (S (S (S (S (S (S (S (S (S (S (S (S (S (S (S (S (S (S (S
-      (S (S (S (S (S (S (S (S (S (S (S (S (S (S (S (S (S (S (S (S (S (S (S (S
-      (S (S (S (S (S (S (S (S (S (S (S (S (S (S (S (S (S (S (S (S (S (S (S (S
-      (S (S (S (S (S (S (S (S (S (S (S (S (S (S (S (S (S (S (S (S (S (S
-      O))))))))))))))))))))))))))))))))))))))))))))))))))))))))))))))))))))))))))))))))))))))))))))))
-      (String ((Ascii (false, true, false, false, false, false, true,
-      false)), (String ((Ascii (true, false, false, false, false, true, true,
-      false)), (String ((Ascii (false, false, true, false, true, true, true,
-      false)), (String ((Ascii (true, true, false, false, false, true, true,
-      false)), (String ((Ascii (false, false, false, true, false, true, true,
-      false)), (String ((Ascii (false, true, true, true, false, false, true,
-      false)), (String ((Ascii (true, false, true, false, true, true, true,
-      false)), (String ((Ascii (true, false, true, true, false, true, true,
-      false)), (String ((Ascii (false, true, false, false, false, true, true,
-      false)), (String ((Ascii (true, false, true, false, false, true, true,
-      false)), (String ((Ascii (false, true, false, false, true, true, true,
-      false)), EmptyString)))))))))))))))))))))) ((String ((Ascii (false,
-      false, false, false, true, true, true, false)), (String ((Ascii (true,
-      false, false, false, false, true, true, false)), (String ((Ascii
-      (false, true, false, false, true, true, true, false)), (String ((Ascii
-      (true, true, false, false, true, true, true, false)), (String ((Ascii
-      (true, false, true, false, false, true, true, false)), (String ((Ascii
-      (false, true, true, true, false, false, true, false)), (String ((Ascii
-      (true, false, true, false, true, true, true, false)), (String ((Ascii
-      (true, false, true, true, false, true, true, false)), (String ((Ascii
-      (false, true, true, false, false, false, true, false)), (String ((Ascii
-      (true, false, false, true, false, true, true, false)), (String ((Ascii
-      (true, false, true, false, false, true, true, false)), (String ((Ascii
-      (false, false, true, true, false, true, true, false)), (String ((Ascii
-      (false, false, true, false, false, true, true, false)),
-      EmptyString)))))))))))))))))))))))))) :: [])) :: []))))))))) }
-
-(** val l_BatchHeader : layout **)
-
-let l_BatchHeader =
-  { l_name = (String ((Ascii (false, true, false, false, false, false, true,
-    false)), (String ((Ascii (true, false, false, false, false, true, true,
-    false)), (String ((Ascii (false, false, true, false, true, true, true,
-    false)), (String ((Ascii (true, true, false, false, false, true, true,
-    false)), (String ((Ascii (false, false, false, true, false, true, true,
-    false)), (String ((Ascii (false, false, false, true, false, false, true,
-    false)), (String ((Ascii (true, false, true, false, false, true, true,
-    false)), (String ((Ascii (true, false, false, false, false, true, true,
-    false)), (String ((Ascii (false, false, true, false, false, true, true,
-    false)), (String ((Ascii (true, false, true, false, false, true, true,
-    false)), (String ((Ascii (false, true, false, false, true, true, true,
-    false)), EmptyString)))))))))))))))))))))); l_ix = IRune; l_segs = ((SLit
-    ((Npos (XI (XO (XI (XO (XI XH)))))) :: [])) :: ((SItoa (String ((Ascii
-    (true, true, false, false, true, false, true, false)), (String ((Ascii
-    (true, false, true, false, false, true, true, false)), (String ((Ascii
-    (false, true, false, false, true, true, true, false)), (String ((Ascii
-    (false, true, true, false, true, true, true, false)), (String ((Ascii
-    (true, false, false, true, false, true, true, false)), (String ((Ascii
-    (true, true, false, false, false, true, true, false)), (String ((Ascii
-    (true, false, true, false, false, true, true, false)), (String ((Ascii
-    (true, true, false, false, false, false, true, false)), (String ((Ascii
-    (false, false, true, true, false, true, true, false)), (String ((Ascii
-    (true, false, false, false, false, true, true, false)), (String ((Ascii
-    (true, true, false, false, true, true, true, false)), (String ((Ascii
-    (true, true, false, false, true, true, true, false)), (String ((Ascii
-    (true, true, false, false, false, false, true, false)), (String ((Ascii
-    (true, true, true, true, false, true, true, false)), (String ((Ascii
-    (false, false, true, false, false, true, true, false)), (String ((Ascii
-    (true, false, true, false, false, true, true, false)),
-    EmptyString))))))))))))))))))))))))))))))))) :: ((SAlpha ((String ((Ascii
-    (true, true, false, false, false, false, true, false)), (String ((Ascii
-    (true, true, true, true, false, true, true, false)), (String ((Ascii
-    (true, false, true, true, false, true, true, false)), (String ((Ascii
-    (false, false, false, false, true, true, true, false)), (String ((Ascii
-    (true, false, false, false, false, true, true, false)), (String ((Ascii
-    (false, true, true, true, false, true, true, false)), (String ((Ascii
-    (true, false, false, true, true, true, true, false)), (String ((Ascii
-    (false, true, true, true, false, false, true, false)), (String ((Ascii
-    (true, false, false, false, false, true, true, false)), (String ((Ascii
-    (true, false, true, true, false, true, true, false)), (String ((Ascii
-    (true, false, true, false, false, true, true, false)),
-    EmptyString)))))))))))))))))))))), (S (S (S (S (S (S (S (S (S (S (S (S (S
-    (S (S (S O)))))))))))))))))) :: ((SAlpha ((String ((Ascii (true, true,
-    false, false, false, false, true, false)), (String ((Ascii (true, true,
-    true, true, false, true, true, false)), (String ((Ascii (true, false,
-    true, true, false, true, true, false)), (String ((Ascii (false, false,
-    false, false, true, true, true, false)), (String ((Ascii (true, false,
-    false, false, false, true, true, false)), (String ((Ascii (false, true,
-    true, true, false, true, true, false)), (String ((Ascii (true, false,
-    false, true, true, true, true, false)), (String ((Ascii (false, false,
-    true, false, false, false, true, false)), (String ((Ascii (true, false,
-    false, true, false, true, true, false)), (String ((Ascii (true, true,
-    false, false, true, true, true, false)), (String ((Ascii (true, true,
-    false, false, false, true, true, false)), (String ((Ascii (false, true,
-    false, false, true, true, true, false)), (String ((Ascii (true, false,
-    true, false, false, true, true, false)), (String ((Ascii (false, false,
-    true, false, true, true, true, false)), (String ((Ascii (true, false,
-    false, true, false, true, true, false)), (String ((Ascii (true, true,
-    true, true, false, true, true, false)), (String ((Ascii (false, true,
-    true, true, false, true, true, false)), (String ((Ascii (true, false,
-    false, false, false, true, true, false)), (String ((Ascii (false, true,
-    false, false, true, true, true, false)), (String ((Ascii (true, false,
-    false, true, true, true, true, false)), (String ((Ascii (false, false,
-    true, false, false, false, true, false)), (String ((Ascii (true, false,
-    false, false, false, true, true, false)), (String ((Ascii (false, false,
-    true, false, true, true, true, false)), (String ((Ascii (true, false,
-    false, false, false, true, true, false)),
-    EmptyString)))))))))))))))))))))))))))))))))))))))))))))))), (S (S (S (S
-    (S (S (S (S (S (S (S (S (S (S (S (S (S (S (S (S
-    O)))))))))))))))))))))) :: ((SAlpha ((String ((Ascii (true, true, false,
-    false, false, false, true, false)), (String ((Ascii (true, true, true,
-    true, false, true, true, false)), (String ((Ascii (true, false, true,
-    true, false, true, true, false)), (String ((Ascii (false, false, false,
-    false, true, true, true, false)), (String ((Ascii (true, false, false,
-    false, false, true, true, false)), (String ((Ascii (false, true, true,
-    true, false, true, true, false)), (String ((Ascii (true, false, false,
-    true, true, true, true, false)), (String ((Ascii (true, false, false,
-    true, false, false, true, false)), (String ((Ascii (false, false, true,
-    false, false, true, true, false)), (String ((Ascii (true, false, true,
-    false, false, true, true, false)), (String ((Ascii (false, true, true,
-    true, false, true, true, false)), (String ((Ascii (false, false, true,
-    false, true, true, true, false)), (String ((Ascii (true, false, false,
-    true, false, true, true, false)), (String ((Ascii (false, true, true,
-    false, false, true, true, false)), (String ((Ascii (true, false, false,
-    true, false, true, true, false)), (String ((Ascii (true, true, false,
-    false, false, true, true, false)), (String ((Ascii (true, false, false,
-    false, false, true, true, false)), (String ((Ascii (false, false, true,
-    false, true, true, true, false)), (String ((Ascii (true, false, false,
-    true, false, true, true, false)), (String ((Ascii (true, true, true,
-    true, false, true, true, false)), (String ((Ascii (false, true, true,
-    true, false, true, true, false)),
-    EmptyString)))))))))))))))))))))))))))))))))))))))))), (S (S (S (S (S (S
-    (S (S (S (S O)))))))))))) :: ((SRaw (String ((Ascii (true, true, false,
-    false, true, false, true, false)), (String ((Ascii (false, false, true,
-    false, true, true, true, false)), (String ((Ascii (true, false, false,
-    false, false, true, true, false)), (String ((Ascii (false, true, true,
-    true, false, true, true, false)), (String ((Ascii (false, false, true,
-    false, false, true, true, false)), (String ((Ascii (true, false, false,
-    false, false, true, true, false)), (String ((Ascii (false, true, false,
-    false, true, true, true, false)), (String ((Ascii (false, false, true,
-    false, false, true, true, false)), (String ((Ascii (true, false, true,
-    false, false, false, true, false)), (String ((Ascii (false, true, true,
-    true, false, true, true, false)), (String ((Ascii (false, false, true,
-    false, true, true, true, false)), (String ((Ascii (false, true, false,
-    false, true, true, true, false)), (String ((Ascii (true, false, false,
-    true, true, true, true, false)), (String ((Ascii (true, true, false,
-    false, false, false, true, false)), (String ((Ascii (false, false, true,
-    true, false, true, true, false)), (String ((Ascii (true, false, false,
-    false, false, true, true, false)), (String ((Ascii (true, true, false,
-    false, true, true, true, false)), (String ((Ascii (true, true, false,
-    false, true, true, true, false)), (String ((Ascii (true, true, false,
-    false, false, false, true, false)), (String ((Ascii (true, true, true,
-    true, false, true, true, false)), (String ((Ascii (false, false, true,
-    false, false, true, true, false)), (String ((Ascii (true, false, true,
-    false, false, true, true, false)),
-    EmptyString))))))))))))))))))))))))))))))))))))))))))))) :: ((SAlpha
-    ((String ((Ascii (true, true, false, false, false, false, true, false)),
-    (String ((Ascii (true, true, true, true, false, true, true, false)),
-    (String ((Ascii (true, false, true, true, false, true, true, false)),
-    (String ((Ascii (false, false, false, false, true, true, true, false)),
-    (String ((Ascii (true, false, false, false, false, true, true, false)),
-    (String ((Ascii (false, true, true, true, false, true, true, false)),
-    (String ((Ascii (true, false, false, true, true, true, true, false)),
-    (String ((Ascii (true, false, true, false, false, false, true, false)),
-    (String ((Ascii (false, true, true, true, false, true, true, false)),
-    (String ((Ascii (false, false, true, false, true, true, true, false)),
-    (String ((Ascii (false, true, false, false, true, true, true, false)),
-    (String ((Ascii (true, false, false, true, true, true, true, false)),
-    (String ((Ascii (false, false, true, false, false, false, true, false)),
-    (String ((Ascii (true, false, true, false, false, true, true, false)),
-    (String ((Ascii (true, true, false, false, true, true, true, false)),
-    (String ((Ascii (true, true, false, false, false, true, true, false)),
-    (String ((Ascii (false, true, false, false, true, true, true, false)),
-    (String ((Ascii (true, false, false, true, false, true, true, false)),
-    (String ((Ascii (false, false, false, false, true, true, true, false)),
-    (String ((Ascii (false, false, true, false, true, true, true, false)),
-    (String ((Ascii (true, false, false, true, false, true, true, false)),
-    (String ((Ascii (true, true, true, true, false, true, true, false)),
-    (String ((Ascii (false, true, true, true, false, true, true, false)),
-    EmptyString)))))))))))))))))))))))))))))))))))))))))))))), (S (S (S (S (S
-    (S (S (S (S (S O)))))))))))) :: ((SAlpha ((String ((Ascii (true, true,
-    false, false, false, false, true, false)), (String ((Ascii (true, true,
-    true, true, false, true, true, false)), (String ((Ascii (true, false,
-    true, true, false, true, true, false)), (String ((Ascii (false, false,
-    false, false, true, true, true, false)), (String ((Ascii (true, false,
-    false, false, false, true, true, false)), (String ((Ascii (false, true,
-    true, true, false, true, true, false)), (String ((Ascii (true, false,
-    false, true, true, true, true, false)), (String ((Ascii (false, false,
-    true, false, false, false, true, false)), (String ((Ascii (true, false,
-    true, false, false, true, true, false)), (String ((Ascii (true, true,
-    false, false, true, true, true, false)), (String ((Ascii (true, true,
-    false, false, false, true, true, false)), (String ((Ascii (false, true,
-    false, false, true, true, true, false)), (String ((Ascii (true, false,
-    false, true, false, true, true, false)), (String ((Ascii (false, false,
-    false, false, true, true, true, false)), (String ((Ascii (false, false,
-    true, false, true, true, true, false)), (String ((Ascii (true, false,
-    false, true, false, true, true, false)), (String ((Ascii (false, true,
-    true, false, true, true, true, false)), (String ((Ascii (true, false,
-    true, false, false, true, true, false)), (String ((Ascii (false, false,
-    true, false, false, false, true, false)), (String ((Ascii (true, false,
-    false, false, false, true, true, false)), (String ((Ascii (false, false,
-    true, false, true, true, true, false)), (String ((Ascii (true, false,
-    true, false, false, true, true, false)),
-    EmptyString)))))))))))))))))))))))))))))))))))))))))))), (S (S (S (S (S
-    (S O)))))))) :: ((SCustom ((String ((Ascii (false, true, false, false,
-    false, false, true, false)), (String ((Ascii (true, false, false, false,
-    false, true, true, false)), (String ((Ascii (false, false, true, false,
-    true, true, true, false)), (String ((Ascii (true, true, false, false,
-    false, true, true, false)), (String ((Ascii (false, false, false, true,
-    false, true, true, false)), (String ((Ascii (false, false, false, true,
-    false, false, true, false)), (String ((Ascii (true, false, true, false,
-    false, true, true, false)), (String ((Ascii (true, false, false, false,
-    false, true, true, false)), (String ((Ascii (false, false, true, false,
-    false, true, true, false)), (String ((Ascii (true, false, true, false,
-    false, true, true, false)), (String ((Ascii (false, true, false, false,
-    true, true, true, false)), (String ((Ascii (false, true, true, true,
-    false, true, false, false)), (String ((Ascii (true, false, true, false,
-    false, false, true, false)), (String ((Ascii (false, true, true, false,
-    false, true, true, false)), (String ((Ascii (false, true, true, false,
-    false, true, true, false)), (String ((Ascii (true, false, true, false,
-    false, true, true, false)), (String ((Ascii (true, true, false, false,
-    false, true, true, false)), (String ((Ascii (false, false, true, false,
-    true, true, true, false)), (String ((Ascii (true, false, false, true,
-    false, true, true, false)), (String ((Ascii (false, true, true, false,
-    true, true, true, false)), (String ((Ascii (true, false, true, false,
-    false, true, true, false)), (String ((Ascii (true, false, true, false,
-    false, false, true, false)), (String ((Ascii (false, true, true, true,
-    false, true, true, false)), (String ((Ascii (false, false, true, false,
-    true, true, true, false)), (String ((Ascii (false, true, false, false,
-    true, true, true, false)), (String ((Ascii (true, false, false, true,
-    true, true, true, false)), (String ((Ascii (false, false, true, false,
-    false, false, true, false)), (String ((Ascii (true, false, false, false,
-    false, true, true, false)), (String ((Ascii (false, false, true, false,
-    true, true, true, false)), (String ((Ascii (true, false, true, false,
-    false, true, true, false)), (String ((Ascii (false, true, true, false,
-    false, false, true, false)), (String ((Ascii (true, false, false, true,
-    false, true, true, false)), (String ((Ascii (true, false, true, false,
-    false, true, true, false)), (String ((Ascii (false, false, true, true,
-    false, true, true, false)), (String ((Ascii (false, false, true, false,
-    false, true, true, false)),
-    EmptyString)))))))))))))))))))))))))))))))))))))))))))))))))))))))))))))))))))))),
-    (String ((Ascii (false, true, false, false, true, true, false, false)),
-    (String ((Ascii (true, true, true, false, true, true, false, false)),
-    (String ((Ascii (false, true, true, false, false, true, true, false)),
-    (String ((Ascii (true, false, false, false, true, true, false, false)),
-    (String ((Ascii (true, true, true, false, true, true, false, false)),
-    (String ((Ascii (false, true, false, false, false, true, true, false)),
-    (String ((Ascii (false, true, true, false, true, true, false, false)),
-    (String ((Ascii (true, true, true, false, true, true, false, false)),
-    (String ((Ascii (true, true, true, false, true, true, false, false)),
-    (String ((Ascii (false, false, true, false, false, true, true, false)),
-    (String ((Ascii (false, true, false, false, false, true, true, false)),
-    (String ((Ascii (false, false, false, true, true, true, false, false)),
-    EmptyString)))))))))))))))))))))))))) :: ((SAlpha ((String ((Ascii (true,
-    true, false, false, true, false, true, false)), (String ((Ascii (true,
-    false, true, false, false, true, true, false)), (String ((Ascii (false,
-    false, true, false, true, true, true, false)), (String ((Ascii (false,
-    false, true, false, true, true, true, false)), (String ((Ascii (false,
-    false, true, true, false, true, true, false)), (String ((Ascii (true,
-    false, true, false, false, true, true, false)), (String ((Ascii (true,
-    false, true, true, false, true, true, false)), (String ((Ascii (true,
-    false, true, false, false, true, true, false)), (String ((Ascii (false,
-    true, true, true, false, true, true, false)), (String ((Ascii (false,
-    false, true, false, true, true, true, false)), (String ((Ascii (false,
-    false, true, false, false, false, true, false)), (String ((Ascii (true,
-    false, false, false, false, true, true, false)), (String ((Ascii (false,
-    false, true, false, true, true, true, false)), (String ((Ascii (true,
-    false, true, false, false, true, true, false)),
-    EmptyString)))))))))))))))))))))))))))), (S (S (S O))))) :: ((SItoa
-    (String ((Ascii (true, true, true, true, false, false, true, false)),
-    (String ((Ascii (false, true, false, false, true, true, true, false)),
-    (String ((Ascii (true, false, false, true, false, true, true, false)),
-    (String ((Ascii (true, true, true, false, false, true, true, false)),
-    (String ((Ascii (true, false, false, true, false, true, true, false)),
-    (String ((Ascii (false, true, true, true, false, true, true, false)),
-    (String ((Ascii (true, false, false, false, false, true, true, false)),
-    (String ((Ascii (false, false, true, false, true, true, true, false)),
-    (String ((Ascii (true, true, true, true, false, true, true, false)),
-    (String ((Ascii (false, true, false, false, true, true, true, false)),
-    (String ((Ascii (true, true, false, false, true, false, true, false)),
-    (String ((Ascii (false, false, true, false, true, true, true, false)),
-    (String ((Ascii (true, false, false, false, false, true, true, false)),
-    (String ((Ascii (false, false, true, false, true, true, true, false)),
-    (String ((Ascii (true, false, true, false, true, true, true, false)),
-    (String ((Ascii (true, true, false, false, true, true, true, false)),
-    (String ((Ascii (true, true, false, false, false, false, true, false)),
-    (String ((Ascii (true, true, true, true, false, true, true, false)),
-    (String ((Ascii (false, false, true, false, false, true, true, false)),
-    (String ((Ascii (true, false, true, false, false, true, true, false)),
-    EmptyString))))))))))))))))))))))))))))))))))))))))) :: ((SStr ((String
-    ((Ascii (true, true, true, true, false, false, true, false)), (String
-    ((Ascii (false, false, true, false, false, false, true, false)), (String
-    ((Ascii (false, true, true, false, false, false, true, false)), (String
-    ((Ascii (true, false, false, true, false, false, true, false)), (String
-    ((Ascii (true, false, false, true, false, false, true, false)), (String
-    ((Ascii (false, false, true, false, false, true, true, false)), (String
-    ((Ascii (true, false, true, false, false, true, true, false)), (String
-    ((Ascii (false, true, true, true, false, true, true, false)), (String
-    ((Ascii (false, false, true, false, true, true, true, false)), (String
-    ((Ascii (true, false, false, true, false, true, true, false)), (String
-    ((Ascii (false, true, true, false, false, true, true, false)), (String
-    ((Ascii (true, false, false, true, false, true, true, false)), (String
-    ((Ascii (true, true, false, false, false, true, true, false)), (String
-    ((Ascii (true, false, false, false, false, true, true, false)), (String
-    ((Ascii (false, false, true, false, true, true, true, false)), (String
-    ((Ascii (true, false, false, true, false, true, true, false)), (String
-    ((Ascii (true, true, true, true, false, true, true, false)), (String
-    ((Ascii (false, true, true, true, false, true, true, false)),
-    EmptyString)))))))))))))))))))))))))))))))))))), (S (S (S (S (S (S (S (S
-    O)))))))))) :: ((SNum ((String ((Ascii (false, true, false, false, false,
-    false, true, false)), (String ((Ascii (true, false, false, false, false,
-    true, true, false)), (String ((Ascii (false, false, true, false, true,
-    true, true, false)), (String ((Ascii (true, true, false, false, false,
-    true, true, false)), (String ((Ascii (false, false, false, true, false,
-    true, true, false)), (String ((Ascii (false, true, true, true, false,
-    false, true, false)), (String ((Ascii (true, false, true, false, true,
-    true, true, false)), (String ((Ascii (true, false, true, true, false,
-    true, true, false)), (String ((Ascii (false, true, false, false, false,
-    true, true, false)), (String ((Ascii (true, false, true, false, false,
-    true, true, false)), (String ((Ascii (false, true, false, false, true,
-    true, true, false)), EmptyString)))))))))))))))))))))), (S (S (S (S (S (S
-    (S O))))))))) :: []))))))))))))); l_cuts =
-    ((mkcut O (S O) EmptyString []) :: ((mkcut (S O) (S (S (S (S O))))
-                                          (String ((Ascii (true, true, false,
-                                          false, true, false, true, false)),
-                                          (String ((Ascii (true, false, true,
-                                          false, false, true, true, false)),
-                                          (String ((Ascii (false, true,
-                                          false, false, true, true, true,
-                                          false)), (String ((Ascii (false,
-                                          true, true, false, true, true,
-                                          true, false)), (String ((Ascii
-                                          (true, false, false, true, false,
-                                          true, true, false)), (String
-                                          ((Ascii (true, true, false, false,
-                                          false, true, true, false)), (String
-                                          ((Ascii (true, false, true, false,
-                                          false, true, true, false)), (String
-                                          ((Ascii (true, true, false, false,
-                                          false, false, true, false)),
-                                          (String ((Ascii (false, false,
-                                          true, true, false, true, true,
-                                          false)), (String ((Ascii (true,
-                                          false, false, false, false, true,
-                                          true, false)), (String ((Ascii
-                                          (true, true, false, false, true,
-                                          true, true, false)), (String
-                                          ((Ascii (true, true, false, false,
-                                          true, true, true, false)), (String
-                                          ((Ascii (true, true, false, false,
-                                          false, false, true, false)),
-                                          (String ((Ascii (true, true, true,
-                                          true, false, true, true, false)),
-                                          (String ((Ascii (false, false,
-                                          true, false, false, true, true,
-                                          false)), (String ((Ascii (true,
-                                          false, true, false, false, true,
-                                          true, false)),
-                                          EmptyString))))))))))))))))))))))))))))))))
-                                          ((String ((Ascii (false, false,
-                                          false, false, true, true, true,
-                                          false)), (String ((Ascii (true,
-                                          false, false, false, false, true,
-                                          true, false)), (String ((Ascii
-                                          (false, true, false, false, true,
-                                          true, true, false)), (String
-                                          ((Ascii (true, true, false, false,
-                                          true, true, true, false)), (String
-                                          ((Ascii (true, false, true, false,
-                                          false, true, true, false)), (String
-                                          ((Ascii (false, true, true, true,
-                                          false, false, true, false)),
-                                          (String ((Ascii (true, false, true,
-                                          false, true, true, true, false)),
-                                          (String ((Ascii (true, false, true,
-                                          true, false, true, true, false)),
-                                          (String ((Ascii (false, true, true,
-                                          false, false, false, true, false)),
-                                          (String ((Ascii (true, false,
-                                          false, true, false, true, true,
-                                          false)), (String ((Ascii (true,
-                                          false, true, false, false, true,
-                                          true, false)), (String ((Ascii
-                                          (false, false, true, true, false,
-                                          true, true, false)), (String
-                                          ((Ascii (false, false, true, false,
-                                          false, true, true, false)),
-                                          EmptyString)))))))))))))))))))))))))) :: [])) :: (
-    (mkcut (S (S (S (S O)))) (S (S (S (S (S (S (S (S (S (S (S (S (S (S (S (S
-      (S (S (S (S O)))))))))))))))))))) (String ((Ascii (true, true, false,
-      false, false, false, true, false)), (String ((Ascii (true, true, true,
-      true, false, true, true, false)), (String ((Ascii (true, false, true,
-      true, false, true, true, false)), (String ((Ascii (false, false, false,
-      false, true, true, true, false)), (String ((Ascii (true, false, false,
-      false, false, true, true, false)), (String ((Ascii (false, true, true,
-      true, false, true, true, false)), (String ((Ascii (true, false, false,
-      true, true, true, true, false)), (String ((Ascii (false, true, true,
-      true, false, false, true, false)), (String ((Ascii (true, false, false,
-      false, false, true, true, false)), (String ((Ascii (true, false, true,
-      true, false, true, true, false)), (String ((Ascii (true, false, true,
-      false, false, true, true, false)), EmptyString))))))))))))))))))))))
-      ((String ((Ascii (false, false, false, false, true, true, true,
-      false)), (String ((Ascii (true, false, false, false, false, true, true,
-      false)), (String ((Ascii (false, true, false, false, true, true, true,
-      false)), (String ((Ascii (true, true, false, false, true, true, true,
-      false)), (String ((Ascii (true, false, true, false, false, true, true,
-      false)), (String ((Ascii (true, true, false, false, true, false, true,
-      false)), (String ((Ascii (false, false, true, false, true, true, true,
-      false)), (String ((Ascii (false, true, false, false, true, true, true,
-      false)), (String ((Ascii (true, false, false, true, false, true, true,
-      false)), (String ((Ascii (false, true, true, true, false, true, true,
-      false)), (String ((Ascii (true, true, true, false, false, true, true,
-      false)), (String ((Ascii (false, true, true, false, false, false, true,
-      false)), (String ((Ascii (true, false, false, true, false, true, true,
-      false)), (String ((Ascii (true, false, true, false, false, true, true,
-      false)), (String ((Ascii (false, false, true, true, false, true, true,
-      false)), (String ((Ascii (false, false, true, false, false, true, true,
-      false)), (String ((Ascii (true, true, true, false, true, false, true,
-      false)), (String ((Ascii (true, false, false, true, false, true, true,
-      false)), (String ((Ascii (false, false, true, false, true, true, true,
-      false)), (String ((Ascii (false, false, false, true, false, true, true,
-      false)), (String ((Ascii (true, true, true, true, false, false, true,
-      false)), (String ((Ascii (false, false, false, false, true, true, true,
-      false)), (String ((Ascii (false, false, true, false, true, true, true,
-      false)), (String ((Ascii (true, true, false, false, true, true, true,
-      false)),
-      EmptyString)))))))))))))))))))))))))))))))))))))))))))))))) :: [])) :: (
-    (mkcut (S (S (S (S (S (S (S (S (S (S (S (S (S (S (S (S (S (S (S (S
-      O)))))))))))))))))))) (S (S (S (S (S (S (S (S (S (S (S (S (S (S (S (S
-      (S (S (S (S (S (S (S (S (S (S (S (S (S (S (S (S (S (S (S (S (S (S (S (S
-      O)))))))))))))))))))))))))))))))))))))))) (String ((Ascii (true, true,
-      false, false, false, false, true, false)), (String ((Ascii (true, true,
-      true, true, false, true, true, false)), (String ((Ascii (true, false,
-      true, true, false, true, true, false)), (String ((Ascii (false, false,
-      false, false, true, true, true, false)), (String ((Ascii (true, false,
-      false, false, false, true, true, false)), (String ((Ascii (false, true,
-      true, true, false, true, true, false)), (String ((Ascii (true, false,
-      false, true, true, true, true, false)), (String ((Ascii (false, false,
-      true, false, false, false, true, false)), (String ((Ascii (true, false,
-      false, true, false, true, true, false)), (String ((Ascii (true, true,
-      false, false, true, true, true, false)), (String ((Ascii (true, true,
-      false, false, false, true, true, false)), (String ((Ascii (false, true,
-      false, false, true, true, true, false)), (String ((Ascii (true, false,
-      true, false, false, true, true, false)), (String ((Ascii (false, false,
-      true, false, true, true, true, false)), (String ((Ascii (true, false,
-      false, true, false, true, true, false)), (String ((Ascii (true, true,
-      true, true, false, true, true, false)), (String ((Ascii (false, true,
-      true, true, false, true, true, false)), (String ((Ascii (true, false,
-      false, false, false, true, true, false)), (String ((Ascii (false, true,
-      false, false, true, true, true, false)), (String ((Ascii (true, false,
-      false, true, true, true, true, false)), (String ((Ascii (false, false,
-      true, false, false, false, true, false)), (String ((Ascii (true, false,
-      false, false, false, true, true, false)), (String ((Ascii (false,
-      false, true, false, true, true, true, false)), (String ((Ascii (true,
-      false, false, false, false, true, true, false)),
-      EmptyString)))))))))))))))))))))))))))))))))))))))))))))))) ((String
-      ((Ascii (false, false, false, false, true, true, true, false)), (String
-      ((Ascii (true, false, false, false, false, true, true, false)), (String
-      ((Ascii (false, true, false, false, true, true, true, false)), (String
-      ((Ascii (true, true, false, false, true, true, true, false)), (String
-      ((Ascii (true, false, true, false, false, true, true, false)), (String
-      ((Ascii (true, true, false, false, true, false, true, false)), (String
-      ((Ascii (false, false, true, false, true, true, true, false)), (String
-      ((Ascii (false, true, false, false, true, true, true, false)), (String
-      ((Ascii (true, false, false, true, false, true, true, false)), (String
-      ((Ascii (false, true, true, true, false, true, true, false)), (String
-      ((Ascii (true, true, true, false, false, true, true, false)), (String
-      ((Ascii (false, true, true, false, false, false, true, false)), (String
-      ((Ascii (true, false, false, true, false, true, true, false)), (String
-      ((Ascii (true, false, true, false, false, true, true, false)), (String
-      ((Ascii (false, false, true, true, false, true, true, false)), (String
-      ((Ascii (false, false, true, false, false, true, true, false)), (String
-      ((Ascii (true, true, true, false, true, false, true, false)), (String
-      ((Ascii (true, false, false, true, false, true, true, false)), (String
-      ((Ascii (false, false, true, false, true, true, true, false)), (String
-      ((Ascii (false, false, false, true, false, true, true, false)), (String
-      ((Ascii (true, true, true, true, false, false, true, false)), (String
-      ((Ascii (false, false, false, false, true, true, true, false)), (String
-      ((Ascii (false, false, true, false, true, true, true, false)), (String
-      ((Ascii (true, true, false, false, true, true, true, false)),
-      EmptyString)))))))))))))))))))))))))))))))))))))))))))))))) :: [])) :: (
-    (mkcut (S (S (S (S (S (S (S (S (S (S (S (S (S (S (S (S (S (S (S (S (S (S
-      (S (S (S (S (S (S (S (S (S (S (S (S (S (S (S (S (S (S
-      O)))))))))))))))))))))))))))))))))))))))) (S (S (S (S (S (S (S (S (S (S
-      (S (S (S (S (S (S (S (S (S (S (S (S (S (S (S (S (S (S (S (S (S (S (S (S
-      (S (S (S (S (S (S (S (S (S (S (S (S (S (S (S (S
-      O)))))))))))))))))))))))))))))))))))))))))))))))))) (String ((Ascii
-      (true, true, false, false, false, false, true, false)), (String ((Ascii
-      (true, true, true, true, false, true, true, false)), (String ((Ascii
-      (true, false, true, true, false, true, true, false)), (String ((Ascii
-      (false, false, false, false, true, true, true, false)), (String ((Ascii
-      (true, false, false, false, false, true, true, false)), (String ((Ascii
-      (false, true, true, true, false, true, true, false)), (String ((Ascii
-      (true, false, false, true, true, true, true, false)), (String ((Ascii
-      (true, false, false, true, false, false, true, false)), (String ((Ascii
-      (false, false, true, false, false, true, true, false)), (String ((Ascii
-      (true, false, true, false, false, true, true, false)), (String ((Ascii
-      (false, true, true, true, false, true, true, false)), (String ((Ascii
-      (false, false, true, false, true, true, true, false)), (String ((Ascii
-      (true, false, false, true, false, true, true, false)), (String ((Ascii
-      (false, true, true, false, false, true, true, false)), (String ((Ascii
-      (true, false, false, true, false, true, true, false)), (String ((Ascii
-      (true, true, false, false, false, true, true, false)), (String ((Ascii
-      (true, false, false, false, false, true, true, false)), (String ((Ascii
-      (false, false, true, false, true, true, true, false)), (String ((Ascii
-      (true, false, false, true, false, true, true, false)), (String ((Ascii
-      (true, true, true, true, false, true, true, false)), (String ((Ascii
-      (false, true, true, true, false, true, true, false)),
-      EmptyString)))))))))))))))))))))))))))))))))))))))))) ((String ((Ascii
-      (false, false, false, false, true, true, true, false)), (String ((Ascii
-      (true, false, false, false, false, true, true, false)), (String ((Ascii
-      (false, true, false, false, true, true, true, false)), (String ((Ascii
-      (true, true, false, false, true, true, true, false)), (String ((Ascii
-      (true, false, true, false, false, true, true, false)), (String ((Ascii
-      (true, true, false, false, true, false, true, false)), (String ((Ascii
-      (false, false, true, false, true, true, true, false)), (String ((Ascii
-      (false, true, false, false, true, true, true, false)), (String ((Ascii
-      (true, false, false, true, false, true, true, false)), (String ((Ascii
-      (false, true, true, true, false, true, true, false)), (String ((Ascii
-      (true, true, true, false, false, true, true, false)), (String ((Ascii
-      (false, true, true, false, false, false, true, false)), (String ((Ascii
-      (true, false, false, true, false, true, true, false)), (String ((Ascii
-      (true, false, true, false, false, true, true, false)), (String ((Ascii
-      (false, false, true, true, false, true, true, false)), (String ((Ascii
-      (false, false, true, false, false, true, true, false)), (String ((Ascii
-      (true, true, true, false, true, false, true, false)), (String ((Ascii
-      (true, false, false, true, false, true, true, false)), (String ((Ascii
-      (false, false, true, false, true, true, true, false)), (String ((Ascii
-      (false, false, false, true, false, true, true, false)), (String ((Ascii
-      (true, true, true, true, false, false, true, false)), (String ((Ascii
-      (false, false, false, false, true, true, true, false)), (String ((Ascii
-      (false, false, true, false, true, true, true, false)), (String ((Ascii
-      (true, true, false, false, true, true, true, false)),
-      EmptyString)))))))))))))))))))))))))))))))))))))))))))))))) :: [])) :: (
-    (mkcut (S (S (S (S (S (S (S (S (S (S (S (S (S (S (S (S (S (S (S (S (S (S
-      (S (S (S (S (S (S (S (S (S (S (S (S (S (S (S (S (S (S (S (S (S (S (S (S
-      (S (S (S (S O)))))))))))))))))))))))))))))))))))))))))))))))))) (S (S
-      (S (S (S (S (S (S (S (S (S (S (S (S (S (S (S (S (S (S (S (S (S (S (S (S
-      (S (S (S (S (S (S (S (S (S (S (S (S (S (S (S (S (S (S (S (S (S (S (S (S
-      (S (S (S O))))))))))))))))))))))))))))))))))))))))))))))))))))) (String
-      ((Ascii (true, true, false, false, true, false, true, false)), (String
-      ((Ascii (false, false, true, false, true, true, true, false)), (String
-      ((Ascii (true, false, false, false, false, true, true, false)), (String
-      ((Ascii (false, true, true, true, false, true, true, false)), (String
-      ((Ascii (false, false, true, false, false, true, true, false)), (String
-      ((Ascii (true, false, false, false, false, true, true, false)), (String
-      ((Ascii (false, true, false, false, true, true, true, false)), (String
-      ((Ascii (false, false, true, false, false, true, true, false)), (String
-      ((Ascii (true, false, true, false, false, false, true, false)), (String
-      ((Ascii (false, true, true, true, false, true, true, false)), (String
-      ((Ascii (false, false, true, false, true, true, true, false)), (String
-      ((Ascii (false, true, false, false, true, true, true, false)), (String
-      ((Ascii (true, false, false, true, true, true, true, false)), (String
-      ((Ascii (true, true, false, false, false, false, true, false)), (String
-      ((Ascii (false, false, true, true, false, true, true, false)), (String
-      ((Ascii (true, false, false, false, false, true, true, false)), (String
-      ((Ascii (true, true, false, false, true, true, true, false)), (String
-      ((Ascii (true, true, false, false, true, true, true, false)), (String
-      ((Ascii (true, true, false, false, false, false, true, false)), (String
-      ((Ascii (true, true, true, true, false, true, true, false)), (String
-      ((Ascii (false, false, true, false, false, true, true, false)), (String
-      ((Ascii (true, false, true, false, false, true, true, false)),
-      EmptyString)))))))))))))))))))))))))))))))))))))))))))) []) :: (
-    (mkcut (S (S (S (S (S (S (S (S (S (S (S (S (S (S (S (S (S (S (S (S (S (S
-      (S (S (S (S (S (S (S (S (S (S (S (S (S (S (S (S (S (S (S (S (S (S (S (S
-      (S (S (S (S (S (S (S
-      O))))))))))))))))))))))))))))))))))))))))))))))))))))) (S (S (S (S (S
-      (S (S (S (S (S (S (S (S (S (S (S (S (S (S (S (S (S (S (S (S (S (S (S (S
-      (S (S (S (S (S (S (S (S (S (S (S (S (S (S (S (S (S (S (S (S (S (S (S (S
-      (S (S (S (S (S (S (S (S (S (S
-      O)))))))))))))))))))))))))))))))))))))))))))))))))))))))))))))))
-      (String ((Ascii (true, true, false, false, false, false, true, false)),
-      (String ((Ascii (true, true, true, true, false, true, true, false)),
-      (String ((Ascii (true, false, true, true, false, true, true, false)),
-      (String ((Ascii (false, false, false, false, true, true, true, false)),
-      (String ((Ascii (true, false, false, false, false, true, true, false)),
-      (String ((Ascii (false, true, true, true, false, true, true, false)),
-      (String ((Ascii (true, false, false, true, true, true, true, false)),
-      (String ((Ascii (true, false, true, false, false, false, true, false)),
-      (String ((Ascii (false, true, true, true, false, true, true, false)),
-      (String ((Ascii (false, false, true, false, true, true, true, false)),
-      (String ((Ascii (false, true, false, false, true, true, true, false)),
-      (String ((Ascii (true, false, false, true, true, true, true, false)),
-      (String ((Ascii (false, false, true, false, false, false, true,
-      false)), (String ((Ascii (true, false, true, false, false, true, true,
-      false)), (String ((Ascii (true, true, false, false, true, true, true,
-      false)), (String ((Ascii (true, true, false, false, false, true, true,
-      false)), (String ((Ascii (false, true, false, false, true, true, true,
-      false)), (String ((Ascii (true, false, false, true, false, true, true,
-      false)), (String ((Ascii (false, false, false, false, true, true, true,
-      false)), (String ((Ascii (false, false, true, false, true, true, true,
-      false)), (String ((Ascii (true, false, false, true, false, true, true,
-      false)), (String ((Ascii (true, true, true, true, false, true, true,
-      false)), (String ((Ascii (false, true, true, true, false, true, true,
-      false)), EmptyString))))))))))))))))))))))))))))))))))))))))))))))
-      ((String ((Ascii (false, false, false, false, true, true, true,
-      false)), (String ((Ascii (true, false, false, false, false, true, true,
-      false)), (String ((Ascii (false, true, false, false, true, true, true,
-      false)), (String ((Ascii (true, true, false, false, true, true, true,
-      false)), (String ((Ascii (true, false, true, false, false, true, true,
-      false)), (String ((Ascii (true, true, false, false, true, false, true,
-      false)), (String ((Ascii (false, false, true, false, true, true, true,
-      false)), (String ((Ascii (false, true, false, false, true, true, true,
-      false)), (String ((Ascii (true, false, false, true, false, true, true,
-      false)), (String ((Ascii (false, true, true, true, false, true, true,
-      false)), (String ((Ascii (true, true, true, false, false, true, true,
-      false)), (String ((Ascii (false, true, true, false, false, false, true,
-      false)), (String ((Ascii (true, false, false, true, false, true, true,
-      false)), (String ((Ascii (true, false, true, false, false, true, true,
-      false)), (String ((Ascii (false, false, true, true, false, true, true,
-      false)), (String ((Ascii (false, false, true, false, false, true, true,
-      false)), (String ((Ascii (true, true, true, false, true, false, true,
-      false)), (String ((Ascii (true, false, false, true, false, true, true,
-      false)), (String ((Ascii (false, false, true, false, true, true, true,
-      false)), (String ((Ascii (false, false, false, true, false, true, true,
-      false)), (String ((Ascii (true, true, true, true, false, false, true,
-      false)), (String ((Ascii (false, false, false, false, true, true, true,
-      false)), (String ((Ascii (false, false, true, false, true, true, true,
-      false)), (String ((Ascii (true, true, false, false, true, true, true,
-      false)),
-      EmptyString)))))))))))))))))))))))))))))))))))))))))))))))) :: [])) :: (
-    (mkcut (S (S (S (S (S (S (S (S (S (S (S (S (S (S (S (S (S (S (S (S (S (S
-      (S (S (S (S (S (S (S (S (S (S (S (S (S (S (S (S (S (S (S (S (S (S (S (S
-      (S (S (S (S (S (S (S (S (S (S (S (S (S (S (S (S (S
-      O))))))))))))))))))))))))))))))))))))))))))))))))))))))))))))))) (S (S
-      (S (S (S (S (S (S (S (S (S (S (S (S (S (S (S (S (S (S (S (S (S (S (S (S
-      (S (S (S (S (S (S (S (S (S (S (S (S (S (S (S (S (S (S (S (S (S (S (S (S
-      (S (S (S (S (S (S (S (S (S (S (S (S (S (S (S (S (S (S (S
-      O)))))))))))))))))))))))))))))))))))))))))))))))))))))))))))))))))))))
-      (String ((Ascii (true, true, false, false, false, false, true, false)),
-      (String ((Ascii (true, true, true, true, false, true, true, false)),
-      (String ((Ascii (true, false, true, true, false, true, true, false)),
-      (String ((Ascii (false, false, false, false, true, true, true, false)),
-      (String ((Ascii (true, false, false, false, false, true, true, false)),
-      (String ((Ascii (false, true, true, true, false, true, true, false)),
-      (String ((Ascii (true, false, false, true, true, true, true, false)),
-      (String ((Ascii (false, false, true, false, false, false, true,
-      false)), (String ((Ascii (true, false, true, false, false, true, true,
-      false)), (String ((Ascii (true, true, false, false, true, true, true,
-      false)), (String ((Ascii (true, true, false, false, false, true, true,
-      false)), (String ((Ascii (false, true, false, false, true, true, true,
-      false)), (String ((Ascii (true, false, false, true, false, true, true,
-      false)), (String ((Ascii (false, false, false, false, true, true, true,
-      false)), (String ((Ascii (false, false, true, false, true, true, true,
-      false)), (String ((Ascii (true, false, false, true, false, true, true,
-      false)), (String ((Ascii (false, true, true, false, true, true, true,
-      false)), (String ((Ascii (true, false, true, false, false, true, true,
-      false)), (String ((Ascii (false, false, true, false, false, false,
-      true, false)), (String ((Ascii (true, false, false, false, false, true,
-      true, false)), (String ((Ascii (false, false, true, false, true, true,
-      true, false)), (String ((Ascii (true, false, true, false, false, true,
-      true, false)), EmptyString))))))))))))))))))))))))))))))))))))))))))))
-      ((String ((Ascii (false, false, false, false, true, true, true,
-      false)), (String ((Ascii (true, false, false, false, false, true, true,
-      false)), (String ((Ascii (false, true, false, false, true, true, true,
-      false)), (String ((Ascii (true, true, false, false, true, true, true,
-      false)), (String ((Ascii (true, false, true, false, false, true, true,
-      false)), (String ((Ascii (true, true, false, false, true, false, true,
-      false)), (String ((Ascii (false, false, true, false, true, true, true,
-      false)), (String ((Ascii (false, true, false, false, true, true, true,
-      false)), (String ((Ascii (true, false, false, true, false, true, true,
-      false)), (String ((Ascii (false, true, true, true, false, true, true,
-      false)), (String ((Ascii (true, true, true, false, false, true, true,
-      false)), (String ((Ascii (false, true, true, false, false, false, true,
-      false)), (String ((Ascii (true, false, false, true, false, true, true,
-      false)), (String ((Ascii (true, false, true, false, false, true, true,
-      false)), (String ((Ascii (false, false, true, true, false, true, true,
-      false)), (String ((Ascii (false, false, true, false, false, true, true,
-      false)), (String ((Ascii (true, true, true, false, true, false, true,
-      false)), (String ((Ascii (true, false, false, true, false, true, true,
-      false)), (String ((Ascii (false, false, true, false, true, true, true,
-      false)), (String ((Ascii (false, false, false, true, false, true, true,
-      false)), (String ((Ascii (true, true, true, true, false, false, true,
-      false)), (String ((Ascii (false, false, false, false, true, true, true,
-      false)), (String ((Ascii (false, false, true, false, true, true, true,
-      false)), (String ((Ascii (true, true, false, false, true, true, true,
-      false)),
-      EmptyString)))))))))))))))))))))))))))))))))))))))))))))))) :: [])) :: (
-    (mkcut (S (S (S (S (S (S (S (S (S (S (S (S (S (S (S (S (S (S (S (S (S (S
-      (S (S (S (S (S (S (S (S (S (S (S (S (S (S (S (S (S (S (S (S (S (S (S (S
-      (S (S (S (S (S (S (S (S (S (S (S (S (S (S (S (S (S (S (S (S (S (S (S
-      O)))))))))))))))))))))))))))))))))))))))))))))))))))))))))))))))))))))
-      (S (S (S (S (S (S (S (S (S (S (S (S (S (S (S (S (S (S (S (S (S (S (S (S
-      (S (S (S (S (S (S (S (S (S (S (S (S (S (S (S (S (S (S (S (S (S (S (S (S
-      (S (S (S (S (S (S (S (S (S (S (S (S (S (S (S (S (S (S (S (S (S (S (S (S
-      (S (S (S
-      O)))))))))))))))))))))))))))))))))))))))))))))))))))))))))))))))))))))))))))
-      (String ((Ascii (true, false, true, false, false, false, true, false)),
-      (String ((Ascii (false, true, true, false, false, true, true, false)),
-      (String ((Ascii (false, true, true, false, false, true, true, false)),
-      (String ((Ascii (true, false, true, false, false, true, true, false)),
-      (String ((Ascii (true, true, false, false, false, true, true, false)),
-      (String ((Ascii (false, false, true, false, true, true, true, false)),
-      (String ((Ascii (true, false, false, true, false, true, true, false)),
-      (String ((Ascii (false, true, true, false, true, true, true, false)),
-      (String ((Ascii (true, false, true, false, false, true, true, false)),
-      (String ((Ascii (true, false, true, false, false, false, true, false)),
-      (String ((Ascii (false, true, true, true, false, true, true, false)),
-      (String ((Ascii (false, false, true, false, true, true, true, false)),
-      (String ((Ascii (false, true, false, false, true, true, true, false)),
-      (String ((Ascii (true, false, false, true, true, true, true, false)),
-      (String ((Ascii (false, false, true, false, false, false, true,
-      false)), (String ((Ascii (true, false, false, false, false, true, true,
-      false)), (String ((Ascii (false, false, true, false, true, true, true,
-      false)), (String ((Ascii (true, false, true, false, false, true, true,
-      false)), EmptyString)))))))))))))))))))))))))))))))))))) ((String
-      ((Ascii (false, true, true, false, true, true, true, false)), (String
-      ((Ascii (true, false, false, false, false, true, true, false)), (String
-      ((Ascii (false, false, true, true, false, true, true, false)), (String
-      ((Ascii (true, false, false, true, false, true, true, false)), (String
-      ((Ascii (false, false, true, false, false, true, true, false)), (String
-      ((Ascii (true, false, false, false, false, true, true, false)), (String
-      ((Ascii (false, false, true, false, true, true, true, false)), (String
-      ((Ascii (true, false, true, false, false, true, true, false)), (String
-      ((Ascii (true, true, false, false, true, false, true, false)), (String
-      ((Ascii (true, false, false, true, false, true, true, false)), (String
-      ((Ascii (true, false, true, true, false, true, true, false)), (String
-      ((Ascii (false, false, false, false, true, true, true, false)), (String
-      ((Ascii (false, false, true, true, false, true, true, false)), (String
-      ((Ascii (true, false, true, false, false, true, true, false)), (String
-      ((Ascii (false, false, true, false, false, false, true, false)),
-      (String ((Ascii (true, false, false, false, false, true, true, false)),
-      (String ((Ascii (false, false, true, false, true, true, true, false)),
-      (String ((Ascii (true, false, true, false, false, true, true, false)),
-      EmptyString)))))))))))))))))))))))))))))))))))) :: [])) :: ((mkcut (S
-                                                                    (S (S (S
-                                                                    (S (S (S
-                                                                    (S (S (S
-                                                                    (S (S (S
-                                                                    (S (S (S
-                                                                    (S (S (S
-                                                                    (S (S (S
-                                                                    (S (S (S
-                                                                    (S (S (S
-                                                                    (S (S (S
-                                                                    (S (S (S
-                                                                    (S (S (S
-                                                                    (S (S (S
-                                                                    (S (S (S
-                                                                    (S (S (S
-                                                                    (S (S (S
-                                                                    (S (S (S
-                                                                    (S (S (S
-                                                                    (S (S (S
-                                                                    (S (S (S
-                                                                    (S (S (S
-                                                                    (S (S (S
-                                                                    (S (S (S
-                                                                    (S (S (S
-                                                                    (S (S
-                                                                    O)))))))))))))))))))))))))))))))))))))))))))))))))))))))))))))))))))))))))))
-                                                                    (S (S (S
-                                                                    (S (S (S
-                                                                    (S (S (S
-                                                                    (S (S (S
-                                                                    (S (S (S
-                                                                    (S (S (S
-                                                                    (S (S (S
-                                                                    (S (S (S
-                                                                    (S (S (S
-                                                                    (S (S (S
-                                                                    (S (S (S
-                                                                    (S (S (S
-                                                                    (S (S (S
-                                                                    (S (S (S
-                                                                    (S (S (S
-                                                                    (S (S (S
-                                                                    (S (S (S
-                                                                    (S (S (S
-                                                                    (S (S (S
-                                                                    (S (S (S
-                                                                    (S (S (S
-                                                                    (S (S (S
-                                                                    (S (S (S
-                                                                    (S (S (S
-                                                                    (S (S (S
-                                                                    (S (S (S
-                                                                    O))))))))))))))))))))))))))))))))))))))))))))))))))))))))))))))))))))))))))))))
-                                                                    (String
-                                                                    ((Ascii
-                                                                    (true,
-                                                                    true,
-                                                                    false,
-                                                                    false,
-                                                                    true,
-                                                                    false,
-                                                                    true,
-                                                                    false)),
-                                                                    (String
-                                                                    ((Ascii
-                                                                    (true,
-                                                                    false,
-                                                                    true,
-                                                                    false,
-                                                                    false,
-                                                                    true,
-                                                                    true,
-                                                                    false)),
-                                                                    (String
-                                                                    ((Ascii
-                                                                    (false,
-                                                                    false,
-                                                                    true,
-                                                                    false,
-                                                                    true,
-                                                                    true,
-                                                                    true,
-                                                                    false)),
-                                                                    (String
-                                                                    ((Ascii
-                                                                    (false,
-                                                                    false,
-                                                                    true,
-                                                                    false,
-                                                                    true,
-                                                                    true,
-                                                                    true,
-                                                                    false)),
-                                                                    (String
-                                                                    ((Ascii
-                                                                    (false,
-                                                                    false,
-                                                                    true,
-                                                                    true,
-                                                                    false,
-                                                                    true,
-                                                                    true,
-                                                                    false)),
-                                                                    (String
-                                                                    ((Ascii
-                                                                    (true,
-                                                                    false,
-                                                                    true,
-                                                                    false,
-                                                                    false,
-                                                                    true,
-                                                                    true,
-                                                                    false)),
-                                                                    (String
-                                                                    ((Ascii
-                                                                    (true,
-                                                                    false,
-                                                                    true,
-                                                                    true,
-                                                                    false,
-                                                                    true,
-                                                                    true,
-                                                                    false)),
-                                                                    (String
-                                                                    ((Ascii
-                                                                    (true,
-                                                                    false,
-                                                                    true,
-                                                                    false,
-                                                                    false,
-                                                                    true,
-                                                                    true,
-                                                                    false)),
-                                                                    (String
-                                                                    ((Ascii
-                                                                    (false,
-                                                                    true,
-                                                                    true,
-                                                                    true,
-                                                                    false,
-                                                                    true,
-                                                                    true,
-                                                                    false)),
-                                                                    (String
-                                                                    ((Ascii
-                                                                    (false,
-                                                                    false,
-                                                                    true,
-                                                                    false,
-                                                                    true,
-                                                                    true,
-                                                                    true,
-                                                                    false)),
-                                                                    (String
-                                                                    ((Ascii
-                                                                    (false,
-                                                                    false,
-                                                                    true,
-                                                                    false,
-                                                                    false,
-                                                                    false,
-                                                                    true,
-                                                                    false)),
-                                                                    (String
-                                                                    ((Ascii
-                                                                    (true,
-                                                                    false,
-                                                                    false,
-                                                                    false,
-                                                                    false,
-                                                                    true,
-                                                                    true,
-                                                                    false)),
-                                                                    (String
-                                                                    ((Ascii
-                                                                    (false,
-                                                                    false,
-                                                                    true,
-                                                                    false,
-                                                                    true,
-                                                                    true,
-                                                                    true,
-                                                                    false)),
-                                                                    (String
-                                                                    ((Ascii
-                                                                    (true,
-                                                                    false,
-                                                                    true,
-                                                                    false,
-                                                                    false,
-                                                                    true,
-                                                                    true,
-                                                                    false)),
-                                                                    EmptyString))))))))))))))))))))))))))))
-                                                                    ((String
-                                                                    ((Ascii
-                                                                    (false,
-                                                                    true,
-                                                                    true,
-                                                                    false,
-                                                                    true,
-                                                                    true,
-                                                                    true,
-                                                                    false)),
-                                                                    (String
-                                                                    ((Ascii
-                                                                    (true,
-                                                                    false,
-                                                                    false,
-                                                                    false,
-                                                                    false,
-                                                                    true,
-                                                                    true,
-                                                                    false)),
-                                                                    (String
-                                                                    ((Ascii
-                                                                    (false,
-                                                                    false,
-                                                                    true,
-                                                                    true,
-                                                                    false,
-                                                                    true,
-                                                                    true,
-                                                                    false)),
-                                                                    (String
-                                                                    ((Ascii
-                                                                    (true,
-                                                                    false,
-                                                                    false,
-                                                                    true,
-                                                                    false,
-                                                                    true,
-                                                                    true,
-                                                                    false)),
-                                                                    (String
-                                                                    ((Ascii
-                                                                    (false,
-                                                                    false,
-                                                                    true,
-                                                                    false,
-                                                                    false,
-                                                                    true,
-                                                                    true,
-                                                                    false)),
-                                                                    (String
-                                                                    ((Ascii
-                                                                    (true,
-                                                                    false,
-                                                                    false,
-                                                                    false,
-                                                                    false,
-                                                                    true,
-                                                                    true,
-                                                                    false)),
-                                                                    (String
-                                                                    ((Ascii
-                                                                    (false,
-                                                                    false,
-                                                                    true,
-                                                                    false,
-                                                                    true,
-                                                                    true,
-                                                                    true,
-                                                                    false)),
-                                                                    (String
-                                                                    ((Ascii
-                                                                    (true,
-                                                                    false,
-                                                                    true,
-                                                                    false,
-                                                                    false,
-                                                                    true,
-                                                                    true,
-                                                                    false)),
-                                                                    (String
-                                                                    ((Ascii
-                                                                    (true,
-                                                                    true,
-                                                                    false,
-                                                                    false,
-                                                                    true,
-                                                                    false,
-                                                                    true,
-                                                                    false)),
-                                                                    (String
-                                                                    ((Ascii
-                                                                    (true,
-                                                                    false,
-                                                                    true,
-                                                                    false,
-                                                                    false,
-                                                                    true,
-                                                                    true,
-                                                                    false)),
-                                                                    (String
-                                                                    ((Ascii
-                                                                    (false,
-                                                                    false,
-                                                                    true,
-                                                                    false,
-                                                                    true,
-                                                                    true,
-                                                                    true,
-                                                                    false)),
-                                                                    (String
-                                                                    ((Ascii
-                                                                    (false,
-                                                                    false,
-                                                                    true,
-                                                                    false,
-                                                                    true,
-                                                                    true,
-                                                                    true,
-                                                                    false)),
-                                                                    (String
-                                                                    ((Ascii
-                                                                    (false,
-                                                                    false,
-                                                                    true,
-                                                                    true,
-                                                                    false,
-                                                                    true,
-                                                                    true,
-                                                                    false)),
-                                                                    (String
-                                                                    ((Ascii
-                                                                    (true,
-                                                                    false,
-                                                                    true,
-                                                                    false,
-                                                                    false,
-                                                                    true,
-                                                                    true,
-                                                                    false)),
-                                                                    (String
-                                                                    ((Ascii
-                                                                    (true,
-                                                                    false,
-                                                                    true,
-                                                                    true,
-                                                                    false,
-                                                                    true,
-                                                                    true,
-                                                                    false)),
-                                                                    (String
-                                                                    ((Ascii
-                                                                    (true,
-                                                                    false,
-                                                                    true,
-                                                                    false,
-                                                                    false,
-                                                                    true,
-                                                                    true,
-                                                                    false)),
-                                                                    (String
-                                                                    ((Ascii
-                                                                    (false,
-                                                                    true,
-                                                                    true,
-                                                                    true,
-                                                                    false,
-                                                                    true,
-                                                                    true,
-                                                                    false)),
-                                                                    (String
-                                                                    ((Ascii
-                                                                    (false,
-                                                                    false,
-                                                                    true,
-                                                                    false,
-                                                                    true,
-                                                                    true,
-                                                                    true,
-                                                                    false)),
-                                                                    (String
-                                                                    ((Ascii
-                                                                    (false,
-                                                                    false,
-                                                                    true,
-                                                                    false,
-                                                                    false,
-                                                                    false,
-                                                                    true,
-                                                                    false)),
-                                                                    (String
-                                                                    ((Ascii
-                                                                    (true,
-                                                                    false,
-                                                                    false,
-                                                                    false,
-                                                                    false,
-                                                                    true,
-                                                                    true,
-                                                                    false)),
-                                                                    (String
-                                                                    ((Ascii
-                                                                    (false,
-                                                                    false,
-                                                                    true,
-                                                                    false,
-                                                                    true,
-                                                                    true,
-                                                                    true,
-                                                                    false)),
-                                                                    (String
-                                                                    ((Ascii
-                                                                    (true,
-                                                                    false,
-                                                                    true,
-                                                                    false,
-                                                                    false,
-                                                                    true,
-                                                                    true,
-                                                                    false)),
-                                                                    EmptyString)))))))))))))))))))))))))))))))))))))))))))) :: [])) :: (
-    (mkcut (S (S (S (S (S (S (S (S (S (S (S (S (S (S (S (S (S (S (S (S (S (S
-      (S (S (S (S (S (S (S (S (S (S (S (S (S (S (S (S (S (S (S (S (S (S (S (S
-      (S (S (S (S (S (S (S (S (S (S (S (S (S (S (S (S (S (S (S (S (S (S (S (S
-      (S (S (S (S (S (S (S (S
-      O))))))))))))))))))))))))))))))))))))))))))))))))))))))))))))))))))))))))))))))
-      (S (S (S (S (S (S (S (S (S (S (S (S (S (S (S (S (S (S (S (S (S (S (S (S
-      (S (S (S (S (S (S (S (S (S (S (S (S (S (S (S (S (S (S (S (S (S (S (S (S
-      (S (S (S (S (S (S (S (S (S (S (S (S (S (S (S (S (S (S (S (S (S (S (S (S
-      (S (S (S (S (S (S (S
-      O)))))))))))))))))))))))))))))))))))))))))))))))))))))))))))))))))))))))))))))))
-      (String ((Ascii (true, true, true, true, false, false, true, false)),
-      (String ((Ascii (false, true, false, false, true, true, true, false)),
-      (String ((Ascii (true, false, false, true, false, true, true, false)),
-      (String ((Ascii (true, true, true, false, false, true, true, false)),
-      (String ((Ascii (true, false, false, true, false, true, true, false)),
-      (String ((Ascii (false, true, true, true, false, true, true, false)),
-      (String ((Ascii (true, false, false, false, false, true, true, false)),
-      (String ((Ascii (false, false, true, false, true, true, true, false)),
-      (String ((Ascii (true, true, true, true, false, true, true, false)),
-      (String ((Ascii (false, true, false, false, true, true, true, false)),
-      (String ((Ascii (true, true, false, false, true, false, true, false)),
-      (String ((Ascii (false, false, true, false, true, true, true, false)),
-      (String ((Ascii (true, false, false, false, false, true, true, false)),
-      (String ((Ascii (false, false, true, false, true, true, true, false)),
-      (String ((Ascii (true, false, true, false, true, true, true, false)),
-      (String ((Ascii (true, true, false, false, true, true, true, false)),
-      (String ((Ascii (true, true, false, false, false, false, true, false)),
-      (String ((Ascii (true, true, true, true, false, true, true, false)),
-      (String ((Ascii (false, false, true, false, false, true, true, false)),
-      (String ((Ascii (true, false, true, false, false, true, true, false)),
-      EmptyString)))))))))))))))))))))))))))))))))))))))) ((String ((Ascii
-      (false, false, false, false, true, true, true, false)), (String ((Ascii
-      (true, false, false, false, false, true, true, false)), (String ((Ascii
-      (false, true, false, false, true, true, true, false)), (String ((Ascii
-      (true, true, false, false, true, true, true, false)), (String ((Ascii
-      (true, false, true, false, false, true, true, false)), (String ((Ascii
-      (false, true, true, true, false, false, true, false)), (String ((Ascii
-      (true, false, true, false, true, true, true, false)), (String ((Ascii
-      (true, false, true, true, false, true, true, false)), (String ((Ascii
-      (false, true, true, false, false, false, true, false)), (String ((Ascii
-      (true, false, false, true, false, true, true, false)), (String ((Ascii
-      (true, false, true, false, false, true, true, false)), (String ((Ascii
-      (false, false, true, true, false, true, true, false)), (String ((Ascii
-      (false, false, true, false, false, true, true, false)),
-      EmptyString)))))))))))))))))))))))))) :: [])) :: ((mkcut (S (S (S (S (S
-                                                          (S (S (S (S (S (S
-                                                          (S (S (S (S (S (S
-                                                          (S (S (S (S (S (S
-                                                          (S (S (S (S (S (S
-                                                          (S (S (S (S (S (S
-                                                          (S (S (S (S (S (S
-                                                          (S (S (S (S (S (S
-                                                          (S (S (S (S (S (S
-                                                          (S (S (S (S (S (S
-                                                          (S (S (S (S (S (S
-                                                          (S (S (S (S (S (S
-                                                          (S (S (S (S (S (S
-                                                          (S (S
-                                                          O)))))))))))))))))))))))))))))))))))))))))))))))))))))))))))))))))))))))))))))))
-                                                          (S (S (S (S (S (S
-                                                          (S (S (S (S (S (S
-                                                          (S (S (S (S (S (S
-                                                          (S (S (S (S (S (S
-                                                          (S (S (S (S (S (S
-                                                          (S (S (S (S (S (S
-                                                          (S (S (S (S (S (S
-                                                          (S (S (S (S (S (S
-                                                          (S (S (S (S (S (S
-                                                          (S (S (S (S (S (S
-                                                          (S (S (S (S (S (S
-                                                          (S (S (S (S (S (S
-                                                          (S (S (S (S (S (S
-                                                          (S (S (S (S (S (S
-                                                          (S (S (S
-                                                          O)))))))))))))))))))))))))))))))))))))))))))))))))))))))))))))))))))))))))))))))))))))))
-                                                          (String ((Ascii
-                                                          (true, true, true,
-                                                          true, false, false,
-                                                          true, false)),
-                                                          (String ((Ascii
-                                                          (false, false,
-                                                          true, false, false,
-                                                          false, true,
-                                                          false)), (String
-                                                          ((Ascii (false,
-                                                          true, true, false,
-                                                          false, false, true,
-                                                          false)), (String
-                                                          ((Ascii (true,
-                                                          false, false, true,
-                                                          false, false, true,
-                                                          false)), (String
-                                                          ((Ascii (true,
-                                                          false, false, true,
-                                                          false, false, true,
-                                                          false)), (String
-                                                          ((Ascii (false,
-                                                          false, true, false,
-                                                          false, true, true,
-                                                          false)), (String
-                                                          ((Ascii (true,
-                                                          false, true, false,
-                                                          false, true, true,
-                                                          false)), (String
-                                                          ((Ascii (false,
-                                                          true, true, true,
-                                                          false, true, true,
-                                                          false)), (String
-                                                          ((Ascii (false,
-                                                          false, true, false,
-                                                          true, true, true,
-                                                          false)), (String
-                                                          ((Ascii (true,
-                                                          false, false, true,
-                                                          false, true, true,
-                                                          false)), (String
-                                                          ((Ascii (false,
-                                                          true, true, false,
-                                                          false, true, true,
-                                                          false)), (String
-                                                          ((Ascii (true,
-                                                          false, false, true,
-                                                          false, true, true,
-                                                          false)), (String
-                                                          ((Ascii (true,
-                                                          true, false, false,
-                                                          false, true, true,
-                                                          false)), (String
-                                                          ((Ascii (true,
-                                                          false, false,
-                                                          false, false, true,
-                                                          true, false)),
-                                                          (String ((Ascii
-                                                          (false, false,
-                                                          true, false, true,
-                                                          true, true,
-                                                          false)), (String
-                                                          ((Ascii (true,
-                                                          false, false, true,
-                                                          false, true, true,
-                                                          false)), (String
-                                                          ((Ascii (true,
-                                                          true, true, true,
-                                                          false, true, true,
-                                                          false)), (String
-                                                          ((Ascii (false,
-                                                          true, true, true,
-                                                          false, true, true,
-                                                          false)),
-                                                          EmptyString))))))))))))))))))))))))))))))))))))
-                                                          ((String ((Ascii
-                                                          (false, false,
-                                                          false, false, true,
-                                                          true, true,
-                                                          false)), (String
-                                                          ((Ascii (true,
-                                                          false, false,
-                                                          false, false, true,
-                                                          true, false)),
-                                                          (String ((Ascii
-                                                          (false, true,
-                                                          false, false, true,
-                                                          true, true,
-                                                          false)), (String
-                                                          ((Ascii (true,
-                                                          true, false, false,
-                                                          true, true, true,
-                                                          false)), (String
-                                                          ((Ascii (true,
-                                                          false, true, false,
-                                                          false, true, true,
-                                                          false)), (String
-                                                          ((Ascii (true,
-                                                          true, false, false,
-                                                          true, false, true,
-                                                          false)), (String
-                                                          ((Ascii (false,
-                                                          false, true, false,
-                                                          true, true, true,
-                                                          false)), (String
-                                                          ((Ascii (false,
-                                                          true, false, false,
-                                                          true, true, true,
-                                                          false)), (String
-                                                          ((Ascii (true,
-                                                          false, false, true,
-                                                          false, true, true,
-                                                          false)), (String
-                                                          ((Ascii (false,
-                                                          true, true, true,
-                                                          false, true, true,
-                                                          false)), (String
-                                                          ((Ascii (true,
-                                                          true, true, false,
-                                                          false, true, true,
-                                                          false)), (String
-                                                          ((Ascii (false,
-                                                          true, true, false,
-                                                          false, false, true,
-                                                          false)), (String
-                                                          ((Ascii (true,
-                                                          false, false, true,
-                                                          false, true, true,
-                                                          false)), (String
-                                                          ((Ascii (true,
-                                                          false, true, false,
-                                                          false, true, true,
-                                                          false)), (String
-                                                          ((Ascii (false,
-                                                          false, true, true,
-                                                          false, true, true,
-                                                          false)), (String
-                                                          ((Ascii (false,
-                                                          false, true, false,
-                                                          false, true, true,
-                                                          false)), (String
-                                                          ((Ascii (true,
-                                                          true, true, false,
-                                                          true, false, true,
-                                                          false)), (String
-                                                          ((Ascii (true,
-                                                          false, false, true,
-                                                          false, true, true,
-                                                          false)), (String
-                                                          ((Ascii (false,
-                                                          false, true, false,
-                                                          true, true, true,
-                                                          false)), (String
-                                                          ((Ascii (false,
-                                                          false, false, true,
-                                                          false, true, true,
-                                                          false)), (String
-                                                          ((Ascii (true,
-                                                          true, true, true,
-                                                          false, false, true,
-                                                          false)), (String
-                                                          ((Ascii (false,
-                                                          false, false,
-                                                          false, true, true,
-                                                          true, false)),
-                                                          (String ((Ascii
-                                                          (false, false,
-                                                          true, false, true,
-                                                          true, true,
-                                                          false)), (String
-                                                          ((Ascii (true,
-                                                          true, false, false,
-                                                          true, true, true,
-                                                          false)),
-                                                          EmptyString)))))))))))))))))))))))))))))))))))))))))))))))) :: [])) :: (
-    (mkcut (S (S (S (S (S (S (S (S (S (S (S (S (S (S (S (S (S (S (S (S (S (S
-      (S (S (S (S (S (S (S (S (S (S (S (S (S (S (S (S (S (S (S (S (S (S (S (S
-      (S (S (S (S (S (S (S (S (S (S (S (S (S (S (S (S (S (S (S (S (S (S (S (S
-      (S (S (S (S (S (S (S (S (S (S (S (S (S (S (S (S (S
-      O)))))))))))))))))))))))))))))))))))))))))))))))))))))))))))))))))))))))))))))))))))))))
-      (S (S (S (S (S (S (S (S (S (S (S (S (S (S (S (S (S (S (S (S (S (S (S (S
-      (S (S (S (S (S (S (S (S (S (S (S (S (S (S (S (S (S (S (S (S (S (S (S (S
-      (S (S (S (S (S (S (S (S (S (S (S (S (S (S (S (S (S (S (S (S (S (S (S (S
-      (S (S (S (S (S (S (S (S (S (S (S (S (S (S (S (S (S (S (S (S (S (S
-      O))))))))))))))))))))))))))))))))))))))))))))))))))))))))))))))))))))))))))))))))))))))))))))))
-      (String ((Ascii (false, true, false, false, false, false, true,
-      false)), (String ((Ascii (true, false, false, false, false, true, true,
-      false)), (String ((Ascii (false, false, true, false, true, true, true,
-      false)), (String ((Ascii (true, true, false, false, false, true, true,
-      false)), (String ((Ascii (false, false, false, true, false, true, true,
-      false)), (String ((Ascii (false, true, true, true, false, false, true,
-      false)), (String ((Ascii (true, false, true, false, true, true, true,
-      false)), (String ((Ascii (true, false, true, true, false, true, true,
-      false)), (String ((Ascii (false, true, false, false, false, true, true,
-      false)), (String ((Ascii (true, false, true, false, false, true, true,
-      false)), (String ((Ascii (false, true, false, false, true, true, true,
-      false)), EmptyString)))))))))))))))))))))) ((String ((Ascii (false,
-      false, false, false, true, true, true, false)), (String ((Ascii (true,
-      false, false, false, false, true, true, false)), (String ((Ascii
-      (false, true, false, false, true, true, true, false)), (String ((Ascii
-      (true, true, false, false, true, true, true, false)), (String ((Ascii
-      (true, false, true, false, false, true, true, false)), (String ((Ascii
-      (false, true, true, true, false, false, true, false)), (String ((Ascii
-      (true, false, true, false, true, true, true, false)), (String ((Ascii
-      (true, false, true, true, false, true, true, false)), (String ((Ascii
-      (false, true, true, false, false, false, true, false)), (String ((Ascii
-      (true, false, false, true, false, true, true, false)), (String ((Ascii
-      (true, false, true, false, false, true, true, false)), (String ((Ascii
-      (false, false, true, true, false, true, true, false)), (String ((Ascii
-      (false, false, true, false, false, true, true, false)),
-      EmptyString)))))))))))))))))))))))))) :: [])) :: []))))))))))))) }
-
-(** val l_EntryDetail : layout **)
-
-let l_EntryDetail =
-  { l_name = (String ((Ascii (true, false, true, false, false, false, true,
-    false)), (String ((Ascii (false, true, true, true, false, true, true,
-    false)), (String ((Ascii (false, false, true, false, true, true, true,
-    false)), (String ((Ascii (false, true, false, false, true, true, true,
-    false)), (String ((Ascii (true, false, false, true, true, true, true,
-    false)), (String ((Ascii (false, false, true, false, false, false, true,
-    false)), (String ((Ascii (true, false, true, false, false, true, true,
-    false)), (String ((Ascii (false, false, true, false, true, true, true,
-    false)), (String ((Ascii (true, false, false, false, false, true, true,
-    false)), (String ((Ascii (true, false, false, true, false, true, true,
-    false)), (String ((Ascii (false, false, true, true, false, true, true,
-    false)), EmptyString)))))))))))))))))))))); l_ix = IRune; l_segs = ((SLit
-    ((Npos (XO (XI (XI (XO (XI XH)))))) :: [])) :: ((SItoa (String ((Ascii
-    (false, false, true, false, true, false, true, false)), (String ((Ascii
-    (false, true, false, false, true, true, true, false)), (String ((Ascii
-    (true, false, false, false, false, true, true, false)), (String ((Ascii
-    (false, true, true, true, false, true, true, false)), (String ((Ascii
-    (true, true, false, false, true, true, true, false)), (String ((Ascii
-    (true, false, false, false, false, true, true, false)), (String ((Ascii
-    (true, true, false, false, false, true, true, false)), (String ((Ascii
-    (false, false, true, false, true, true, true, false)), (String ((Ascii
-    (true, false, false, true, false, true, true, false)), (String ((Ascii
-    (true, true, true, true, false, true, true, false)), (String ((Ascii
-    (false, true, true, true, false, true, true, false)), (String ((Ascii
-    (true, true, false, false, false, false, true, false)), (String ((Ascii
-    (true, true, true, true, false, true, true, false)), (String ((Ascii
-    (false, false, true, false, false, true, true, false)), (String ((Ascii
-    (true, false, true, false, false, true, true, false)),
-    EmptyString))))))))))))))))))))))))))))))) :: ((SStr ((String ((Ascii
-    (false, true, false, false, true, false, true, false)), (String ((Ascii
-    (false, false, true, false, false, false, true, false)), (String ((Ascii
-    (false, true, true, false, false, false, true, false)), (String ((Ascii
-    (true, false, false, true, false, false, true, false)), (String ((Ascii
-    (true, false, false, true, false, false, true, false)), (String ((Ascii
-    (false, false, true, false, false, true, true, false)), (String ((Ascii
-    (true, false, true, false, false, true, true, false)), (String ((Ascii
-    (false, true, true, true, false, true, true, false)), (String ((Ascii
-    (false, false, true, false, true, true, true, false)), (String ((Ascii
-    (true, false, false, true, false, true, true, false)), (String ((Ascii
-    (false, true, true, false, false, true, true, false)), (String ((Ascii
-    (true, false, false, true, false, true, true, false)), (String ((Ascii
-    (true, true, false, false, false, true, true, false)), (String ((Ascii
-    (true, false, false, false, false, true, true, false)), (String ((Ascii
-    (false, false, true, false, true, true, true, false)), (String ((Ascii
-    (true, false, false, true, false, true, true, false)), (String ((Ascii
-    (true, true, true, true, false, true, true, false)), (String ((Ascii
-    (false, true, true, true, false, true, true, false)),
-    EmptyString)))))))))))))))))))))))))))))))))))), (S (S (S (S (S (S (S (S
-    O)))))))))) :: ((SRaw (String ((Ascii (true, true, false, false, false,
-    false, true, false)), (String ((Ascii (false, false, false, true, false,
-    true, true, false)), (String ((Ascii (true, false, true, false, false,
-    true, true, false)), (String ((Ascii (true, true, false, false, false,
-    true, true, false)), (String ((Ascii (true, true, false, true, false,
-    true, true, false)), (String ((Ascii (false, false, true, false, false,
-    false, true, false)), (String ((Ascii (true, false, false, true, false,
-    true, true, false)), (String ((Ascii (true, true, true, false, false,
-    true, true, false)), (String ((Ascii (true, false, false, true, false,
-    true, true, false)), (String ((Ascii (false, false, true, false, true,
-    true, true, false)), EmptyString))))))))))))))))))))) :: ((SAlpha
-    ((String ((Ascii (false, false, true, false, false, false, true, false)),
-    (String ((Ascii (false, true, true, false, false, false, true, false)),
-    (String ((Ascii (true, false, false, true, false, false, true, false)),
-    (String ((Ascii (true, false, false, false, false, false, true, false)),
-    (String ((Ascii (true, true, false, false, false, true, true, false)),
-    (String ((Ascii (true, true, false, false, false, true, true, false)),
-    (String ((Ascii (true, true, true, true, false, true, true, false)),
-    (String ((Ascii (true, false, true, false, true, true, true, false)),
-    (String ((Ascii (false, true, true, true, false, true, true, false)),
-    (String ((Ascii (false, false, true, false, true, true, true, false)),
-    (String ((Ascii (false, true, true, true, false, false, true, false)),
-    (String ((Ascii (true, false, true, false, true, true, true, false)),
-    (String ((Ascii (true, false, true, true, false, true, true, false)),
-    (String ((Ascii (false, true, false, false, false, true, true, false)),
-    (String ((Ascii (true, false, true, false, false, true, true, false)),
-    (String ((Ascii (false, true, false, false, true, true, true, false)),
-    EmptyString)))))))))))))))))))))))))))))))), (S (S (S (S (S (S (S (S (S
-    (S (S (S (S (S (S (S (S O))))))))))))))))))) :: ((SNum ((String ((Ascii
-    (true, false, false, false, false, false, true, false)), (String ((Ascii
-    (true, false, true, true, false, true, true, false)), (String ((Ascii
-    (true, true, true, true, false, true, true, false)), (String ((Ascii
-    (true, false, true, false, true, true, true, false)), (String ((Ascii
-    (false, true, true, true, false, true, true, false)), (String ((Ascii
-    (false, false, true, false, true, true, true, false)),
-    EmptyString)))))))))))), (S (S (S (S (S (S (S (S (S (S
-    O)))))))))))) :: ((SAlpha ((String ((Ascii (true, false, false, true,
-    false, false, true, false)), (String ((Ascii (false, false, true, false,
-    false, true, true, false)), (String ((Ascii (true, false, true, false,
-    false, true, true, false)), (String ((Ascii (false, true, true, true,
-    false, true, true, false)), (String ((Ascii (false, false, true, false,
-    true, true, true, false)), (String ((Ascii (true, false, false, true,
-    false, true, true, false)), (String ((Ascii (false, true, true, false,
-    false, true, true, false)), (String ((Ascii (true, false, false, true,
-    false, true, true, false)), (String ((Ascii (true, true, false, false,
-    false, true, true, false)), (String ((Ascii (true, false, false, false,
-    false, true, true, false)), (String ((Ascii (false, false, true, false,
-    true, true, true, false)), (String ((Ascii (true, false, false, true,
-    false, true, true, false)), (String ((Ascii (true, true, true, true,
-    false, true, true, false)), (String ((Ascii (false, true, true, true,
-    false, true, true, false)), (String ((Ascii (false, true, true, true,
-    false, false, true, false)), (String ((Ascii (true, false, true, false,
-    true, true, true, false)), (String ((Ascii (true, false, true, true,
-    false, true, true, false)), (String ((Ascii (false, true, false, false,
-    false, true, true, false)), (String ((Ascii (true, false, true, false,
-    false, true, true, false)), (String ((Ascii (false, true, false, false,
-    true, true, true, false)),
-    EmptyString)))))))))))))))))))))))))))))))))))))))), (S (S (S (S (S (S (S
-    (S (S (S (S (S (S (S (S O))))))))))))))))) :: ((SAlpha ((String ((Ascii
-    (true, false, false, true, false, false, true, false)), (String ((Ascii
-    (false, true, true, true, false, true, true, false)), (String ((Ascii
-    (false, false, true, false, false, true, true, false)), (String ((Ascii
-    (true, false, false, true, false, true, true, false)), (String ((Ascii
-    (false, true, true, false, true, true, true, false)), (String ((Ascii
-    (true, false, false, true, false, true, true, false)), (String ((Ascii
-    (false, false, true, false, false, true, true, false)), (String ((Ascii
-    (true, false, true, false, true, true, true, false)), (String ((Ascii
-    (true, false, false, false, false, true, true, false)), (String ((Ascii
-    (false, false, true, true, false, true, true, false)), (String ((Ascii
-    (false, true, true, true, false, false, true, false)), (String ((Ascii
-    (true, false, false, false, false, true, true, false)), (String ((Ascii
-    (true, false, true, true, false, true, true, false)), (String ((Ascii
-    (true, false, true, false, false, true, true, false)),
-    EmptyString)))))))))))))))))))))))))))), (S (S (S (S (S (S (S (S (S (S (S
-    (S (S (S (S (S (S (S (S (S (S (S O)))))))))))))))))))))))) :: ((SAlpha
-    ((String ((Ascii (false, false, true, false, false, false, true, false)),
-    (String ((Ascii (true, false, false, true, false, true, true, false)),
-    (String ((Ascii (true, true, false, false, true, true, true, false)),
-    (String ((Ascii (true, true, false, false, false, true, true, false)),
-    (String ((Ascii (false, true, false, false, true, true, true, false)),
-    (String ((Ascii (true, false, true, false, false, true, true, false)),
-    (String ((Ascii (false, false, true, false, true, true, true, false)),
-    (String ((Ascii (true, false, false, true, false, true, true, false)),
-    (String ((Ascii (true, true, true, true, false, true, true, false)),
-    (String ((Ascii (false, true, true, true, false, true, true, false)),
-    (String ((Ascii (true, false, false, false, false, true, true, false)),
-    (String ((Ascii (false, true, false, false, true, true, true, false)),
-    (String ((Ascii (true, false, false, true, true, true, true, false)),
-    (String ((Ascii (false, false, true, false, false, false, true, false)),
-    (String ((Ascii (true, false, false, false, false, true, true, false)),
-    (String ((Ascii (false, false, true, false, true, true, true, false)),
-    (String ((Ascii (true, false, false, false, false, true, true, false)),
-    EmptyString)))))))))))))))))))))))))))))))))), (S (S O)))) :: ((SItoa
-    (String ((Ascii (true, false, false, false, false, false, true, false)),
-    (String ((Ascii (false, false, true, false, false, true, true, false)),
-    (String ((Ascii (false, false, true, false, false, true, true, false)),
-    (String ((Ascii (true, false, true, false, false, true, true, false)),
-    (String ((Ascii (false, true, true, true, false, true, true, false)),
-    (String ((Ascii (false, false, true, false, false, true, true, false)),
-    (String ((Ascii (true, false, false, false, false, true, true, false)),
-    (String ((Ascii (false, true, false, false, true, false, true, false)),
-    (String ((Ascii (true, false, true, false, false, true, true, false)),
-    (String ((Ascii (true, true, false, false, false, true, true, false)),
-    (String ((Ascii (true, true, true, true, false, true, true, false)),
-    (String ((Ascii (false, true, false, false, true, true, true, false)),
-    (String ((Ascii (false, false, true, false, false, true, true, false)),
-    (String ((Ascii (true, false, false, true, false, false, true, false)),
-    (String ((Ascii (false, true, true, true, false, true, true, false)),
-    (String ((Ascii (false, false, true, false, false, true, true, false)),
-    (String ((Ascii (true, false, false, true, false, true, true, false)),
-    (String ((Ascii (true, true, false, false, false, true, true, false)),
-    (String ((Ascii (true, false, false, false, false, true, true, false)),
-    (String ((Ascii (false, false, true, false, true, true, true, false)),
-    (String ((Ascii (true, true, true, true, false, true, true, false)),
-    (String ((Ascii (false, true, false, false, true, true, true, false)),
-    EmptyString))))))))))))))))))))))))))))))))))))))))))))) :: ((SStr
-    ((String ((Ascii (false, false, true, false, true, false, true, false)),
-    (String ((Ascii (false, true, false, false, true, true, true, false)),
-    (String ((Ascii (true, false, false, false, false, true, true, false)),
-    (String ((Ascii (true, true, false, false, false, true, true, false)),
-    (String ((Ascii (true, false, true, false, false, true, true, false)),
-    (String ((Ascii (false, true, true, true, false, false, true, false)),
-    (String ((Ascii (true, false, true, false, true, true, true, false)),
-    (String ((Ascii (true, false, true, true, false, true, true, false)),
-    (String ((Ascii (false, true, false, false, false, true, true, false)),
-    (String ((Ascii (true, false, true, false, false, true, true, false)),
-    (String ((Ascii (false, true, false, false, true, true, true, false)),
-    EmptyString)))))))))))))))))))))), (S (S (S (S (S (S (S (S (S (S (S (S (S
-    (S (S O))))))))))))))))) :: []))))))))))); l_cuts =
-    ((mkcut O (S O) EmptyString []) :: ((mkcut (S O) (S (S (S O))) (String
-                                          ((Ascii (false, false, true, false,
-                                          true, false, true, false)), (String
-                                          ((Ascii (false, true, false, false,
-                                          true, true, true, false)), (String
-                                          ((Ascii (true, false, false, false,
-                                          false, true, true, false)), (String
-                                          ((Ascii (false, true, true, true,
-                                          false, true, true, false)), (String
-                                          ((Ascii (true, true, false, false,
-                                          true, true, true, false)), (String
-                                          ((Ascii (true, false, false, false,
-                                          false, true, true, false)), (String
-                                          ((Ascii (true, true, false, false,
-                                          false, true, true, false)), (String
-                                          ((Ascii (false, false, true, false,
-                                          true, true, true, false)), (String
-                                          ((Ascii (true, false, false, true,
-                                          false, true, true, false)), (String
-                                          ((Ascii (true, true, true, true,
-                                          false, true, true, false)), (String
-                                          ((Ascii (false, true, true, true,
-                                          false, true, true, false)), (String
-                                          ((Ascii (true, true, false, false,
-                                          false, false, true, false)),
-                                          (String ((Ascii (true, true, true,
-                                          true, false, true, true, false)),
-                                          (String ((Ascii (false, false,
-                                          true, false, false, true, true,
-                                          false)), (String ((Ascii (true,
-                                          false, true, false, false, true,
-                                          true, false)),
-                                          EmptyString))))))))))))))))))))))))))))))
-                                          ((String ((Ascii (false, false,
-                                          false, false, true, true, true,
-                                          false)), (String ((Ascii (true,
-                                          false, false, false, false, true,
-                                          true, false)), (String ((Ascii
-                                          (false, true, false, false, true,
-                                          true, true, false)), (String
-                                          ((Ascii (true, true, false, false,
-                                          true, true, true, false)), (String
-                                          ((Ascii (true, false, true, false,
-                                          false, true, true, false)), (String
-                                          ((Ascii (false, true, true, true,
-                                          false, false, true, false)),
-                                          (String ((Ascii (true, false, true,
-                                          false, true, true, true, false)),
-                                          (String ((Ascii (true, false, true,
-                                          true, false, true, true, false)),
-                                          (String ((Ascii (false, true, true,
-                                          false, false, false, true, false)),
-                                          (String ((Ascii (true, false,
-                                          false, true, false, true, true,
-                                          false)), (String ((Ascii (true,
-                                          false, true, false, false, true,
-                                          true, false)), (String ((Ascii
-                                          (false, false, true, true, false,
-                                          true, true, false)), (String
-                                          ((Ascii (false, false, true, false,
-                                          false, true, true, false)),
-                                          EmptyString)))))))))))))))))))))))))) :: [])) :: (
-    (mkcut (S (S (S O))) (S (S (S (S (S (S (S (S (S (S (S O)))))))))))
-      (String ((Ascii (false, true, false, false, true, false, true, false)),
-      (String ((Ascii (false, false, true, false, false, false, true,
-      false)), (String ((Ascii (false, true, true, false, false, false, true,
-      false)), (String ((Ascii (true, false, false, true, false, false, true,
-      false)), (String ((Ascii (true, false, false, true, false, false, true,
-      false)), (String ((Ascii (false, false, true, false, false, true, true,
-      false)), (String ((Ascii (true, false, true, false, false, true, true,
-      false)), (String ((Ascii (false, true, true, true, false, true, true,
-      false)), (String ((Ascii (false, false, true, false, true, true, true,
-      false)), (String ((Ascii (true, false, false, true, false, true, true,
-      false)), (String ((Ascii (false, true, true, false, false, true, true,
-      false)), (String ((Ascii (true, false, false, true, false, true, true,
-      false)), (String ((Ascii (true, true, false, false, false, true, true,
-      false)), (String ((Ascii (true, false, false, false, false, true, true,
-      false)), (String ((Ascii (false, false, true, false, true, true, true,
-      false)), (String ((Ascii (true, false, false, true, false, true, true,
-      false)), (String ((Ascii (true, true, true, true, false, true, true,
-      false)), (String ((Ascii (false, true, true, true, false, true, true,
-      false)), EmptyString)))))))))))))))))))))))))))))))))))) []) :: (
-    (mkcut (S (S (S (S (S (S (S (S (S (S (S O))))))))))) (S (S (S (S (S (S (S
-      (S (S (S (S (S O)))))))))))) (String ((Ascii (true, true, false, false,
-      false, false, true, false)), (String ((Ascii (false, false, false,
-      true, false, true, true, false)), (String ((Ascii (true, false, true,
-      false, false, true, true, false)), (String ((Ascii (true, true, false,
-      false, false, true, true, false)), (String ((Ascii (true, true, false,
-      true, false, true, true, false)), (String ((Ascii (false, false, true,
-      false, false, false, true, false)), (String ((Ascii (true, false,
-      false, true, false, true, true, false)), (String ((Ascii (true, true,
-      true, false, false, true, true, false)), (String ((Ascii (true, false,
-      false, true, false, true, true, false)), (String ((Ascii (false, false,
-      true, false, true, true, true, false)), EmptyString))))))))))))))))))))
-      []) :: ((mkcut (S (S (S (S (S (S (S (S (S (S (S (S O)))))))))))) (S (S
-                (S (S (S (S (S (S (S (S (S (S (S (S (S (S (S (S (S (S (S (S
-                (S (S (S (S (S (S (S O))))))))))))))))))))))))))))) (String
-                ((Ascii (false, false, true, false, false, false, true,
-                false)), (String ((Ascii (false, true, true, false, false,
-                false, true, false)), (String ((Ascii (true, false, false,
-                true, false, false, true, false)), (String ((Ascii (true,
-                false, false, false, false, false, true, false)), (String
-                ((Ascii (true, true, false, false, false, true, true,
-                false)), (String ((Ascii (true, true, false, false, false,
-                true, true, false)), (String ((Ascii (true, true, true, true,
-                false, true, true, false)), (String ((Ascii (true, false,
-                true, false, true, true, true, false)), (String ((Ascii
-                (false, true, true, true, false, true, true, false)), (String
-                ((Ascii (false, false, true, false, true, true, true,
-                false)), (String ((Ascii (false, true, true, true, false,
-                false, true, false)), (String ((Ascii (true, false, true,
-                false, true, true, true, false)), (String ((Ascii (true,
-                false, true, true, false, true, true, false)), (String
-                ((Ascii (false, true, false, false, false, true, true,
-                false)), (String ((Ascii (true, false, true, false, false,
-                true, true, false)), (String ((Ascii (false, true, false,
-                false, true, true, true, false)),
-                EmptyString)))))))))))))))))))))))))))))))) ((String ((Ascii
-                (false, false, false, false, true, true, true, false)),
-                (String ((Ascii (true, false, false, false, false, true,
-                true, false)), (String ((Ascii (false, true, false, false,
-                true, true, true, false)), (String ((Ascii (true, true,
-                false, false, true, true, true, false)), (String ((Ascii
-                (true, false, true, false, false, true, true, false)),
-                (String ((Ascii (true, true, false, false, true, false, true,
-                false)), (String ((Ascii (false, false, true, false, true,
-                true, true, false)), (String ((Ascii (false, true, false,
-                false, true, true, true, false)), (String ((Ascii (true,
-                false, false, true, false, true, true, false)), (String
-                ((Ascii (false, true, true, true, false, true, true, false)),
-                (String ((Ascii (true, true, true, false, false, true, true,
-                false)), (String ((Ascii (false, true, true, false, false,
-                false, true, false)), (String ((Ascii (true, false, false,
-                true, false, true, true, false)), (String ((Ascii (true,
-                false, true, false, false, true, true, false)), (String
-                ((Ascii (false, false, true, true, false, true, true,
-                false)), (String ((Ascii (false, false, true, false, false,
-                true, true, false)), (String ((Ascii (true, true, true,
-                false, true, false, true, false)), (String ((Ascii (true,
-                false, false, true, false, true, true, false)), (String
-                ((Ascii (false, false, true, false, true, true, true,
-                false)), (String ((Ascii (false, false, false, true, false,
-                true, true, false)), (String ((Ascii (true, true, true, true,
-                false, false, true, false)), (String ((Ascii (false, false,
-                false, false, true, true, true, false)), (String ((Ascii
-                (false, false, true, false, true, true, true, false)),
-                (String ((Ascii (true, true, false, false, true, true, true,
-                false)),
-                EmptyString)))))))))))))))))))))))))))))))))))))))))))))))) :: [])) :: (
-    (mkcut (S (S (S (S (S (S (S (S (S (S (S (S (S (S (S (S (S (S (S (S (S (S
-      (S (S (S (S (S (S (S O))))))))))))))))))))))))))))) (S (S (S (S (S (S
-      (S (S (S (S (S (S (S (S (S (S (S (S (S (S (S (S (S (S (S (S (S (S (S (S
-      (S (S (S (S (S (S (S (S (S O)))))))))))))))))))))))))))))))))))))))
-      (String ((Ascii (true, false, false, false, false, false, true,
-      false)), (String ((Ascii (true, false, true, true, false, true, true,
-      false)), (String ((Ascii (true, true, true, true, false, true, true,
-      false)), (String ((Ascii (true, false, true, false, true, true, true,
-      false)), (String ((Ascii (false, true, true, true, false, true, true,
-      false)), (String ((Ascii (false, false, true, false, true, true, true,
-      false)), EmptyString)))))))))))) ((String ((Ascii (false, false, false,
-      false, true, true, true, false)), (String ((Ascii (true, false, false,
-      false, false, true, true, false)), (String ((Ascii (false, true, false,
-      false, true, true, true, false)), (String ((Ascii (true, true, false,
-      false, true, true, true, false)), (String ((Ascii (true, false, true,
-      false, false, true, true, false)), (String ((Ascii (false, true, true,
-      true, false, false, true, false)), (String ((Ascii (true, false, true,
-      false, true, true, true, false)), (String ((Ascii (true, false, true,
-      true, false, true, true, false)), (String ((Ascii (false, true, true,
-      false, false, false, true, false)), (String ((Ascii (true, false,
-      false, true, false, true, true, false)), (String ((Ascii (true, false,
-      true, false, false, true, true, false)), (String ((Ascii (false, false,
-      true, true, false, true, true, false)), (String ((Ascii (false, false,
-      true, false, false, true, true, false)),
-      EmptyString)))))))))))))))))))))))))) :: [])) :: ((mkcut (S (S (S (S (S
-                                                          (S (S (S (S (S (S
-                                                          (S (S (S (S (S (S
-                                                          (S (S (S (S (S (S
-                                                          (S (S (S (S (S (S
-                                                          (S (S (S (S (S (S
-                                                          (S (S (S (S
-                                                          O)))))))))))))))))))))))))))))))))))))))
-                                                          (S (S (S (S (S (S
-                                                          (S (S (S (S (S (S
-                                                          (S (S (S (S (S (S
-                                                          (S (S (S (S (S (S
-                                                          (S (S (S (S (S (S
-                                                          (S (S (S (S (S (S
-                                                          (S (S (S (S (S (S
-                                                          (S (S (S (S (S (S
-                                                          (S (S (S (S (S (S
-                                                          O))))))))))))))))))))))))))))))))))))))))))))))))))))))
-                                                          (String ((Ascii
-                                                          (true, false,
-                                                          false, true, false,
-                                                          false, true,
-                                                          false)), (String
-                                                          ((Ascii (false,
-                                                          false, true, false,
-                                                          false, true, true,
-                                                          false)), (String
-                                                          ((Ascii (true,
-                                                          false, true, false,
-                                                          false, true, true,
-                                                          false)), (String
-                                                          ((Ascii (false,
-                                                          true, true, true,
-                                                          false, true, true,
-                                                          false)), (String
-                                                          ((Ascii (false,
-                                                          false, true, false,
-                                                          true, true, true,
-                                                          false)), (String
-                                                          ((Ascii (true,
-                                                          false, false, true,
-                                                          false, true, true,
-                                                          false)), (String
-                                                          ((Ascii (false,
-                                                          true, true, false,
-                                                          false, true, true,
-                                                          false)), (String
-                                                          ((Ascii (true,
-                                                          false, false, true,
-                                                          false, true, true,
-                                                          false)), (String
-                                                          ((Ascii (true,
-                                                          true, false, false,
-                                                          false, true, true,
-                                                          false)), (String
-                                                          ((Ascii (true,
-                                                          false, false,
-                                                          false, false, true,
-                                                          true, false)),
-                                                          (String ((Ascii
-                                                          (false, false,
-                                                          true, false, true,
-                                                          true, true,
-                                                          false)), (String
-                                                          ((Ascii (true,
-                                                          false, false, true,
-                                                          false, true, true,
-                                                          false)), (String
-                                                          ((Ascii (true,
-                                                          true, true, true,
-                                                          false, true, true,
-                                                          false)), (String
-                                                          ((Ascii (false,
-                                                          true, true, true,
-                                                          false, true, true,
-                                                          false)), (String
-                                                          ((Ascii (false,
-                                                          true, true, true,
-                                                          false, false, true,
-                                                          false)), (String
-                                                          ((Ascii (true,
-                                                          false, true, false,
-                                                          true, true, true,
-                                                          false)), (String
-                                                          ((Ascii (true,
-                                                          false, true, true,
-                                                          false, true, true,
-                                                          false)), (String
-                                                          ((Ascii (false,
-                                                          true, false, false,
-                                                          false, true, true,
-                                                          false)), (String
-                                                          ((Ascii (true,
-                                                          false, true, false,
-                                                          false, true, true,
-                                                          false)), (String
-                                                          ((Ascii (false,
-                                                          true, false, false,
-                                                          true, true, true,
-                                                          false)),
-                                                          EmptyString))))))))))))))))))))))))))))))))))))))))
-                                                          []) :: ((mkcut (S
-                                                                    (S (S (S
-                                                                    (S (S (S
-                                                                    (S (S (S
-                                                                    (S (S (S
-                                                                    (S (S (S
-                                                                    (S (S (S
-                                                                    (S (S (S
-                                                                    (S (S (S
-                                                                    (S (S (S
-                                                                    (S (S (S
-                                                                    (S (S (S
-                                                                    (S (S (S
-                                                                    (S (S (S
-                                                                    (S (S (S
-                                                                    (S (S (S
-                                                                    (S (S (S
-                                                                    (S (S (S
-                                                                    (S (S
-                                                                    O))))))))))))))))))))))))))))))))))))))))))))))))))))))
-                                                                    (S (S (S
-                                                                    (S (S (S
-                                                                    (S (S (S
-                                                                    (S (S (S
-                                                                    (S (S (S
-                                                                    (S (S (S
-                                                                    (S (S (S
-                                                                    (S (S (S
-                                                                    (S (S (S
-                                                                    (S (S (S
-                                                                    (S (S (S
-                                                                    (S (S (S
-                                                                    (S (S (S
-                                                                    (S (S (S
-                                                                    (S (S (S
-                                                                    (S (S (S
-                                                                    (S (S (S
-                                                                    (S (S (S
-                                                                    (S (S (S
-                                                                    (S (S (S
-                                                                    (S (S (S
-                                                                    (S (S (S
-                                                                    (S (S (S
-                                                                    (S (S (S
-                                                                    (S (S (S
-                                                                    (S
-                                                                    O))))))))))))))))))))))))))))))))))))))))))))))))))))))))))))))))))))))))))))
-                                                                    (String
-                                                                    ((Ascii
-                                                                    (true,
-                                                                    false,
-                                                                    false,
-                                                                    true,
-                                                                    false,
-                                                                    false,
-                                                                    true,
-                                                                    false)),
-                                                                    (String
-                                                                    ((Ascii
-                                                                    (false,
-                                                                    true,
-                                                                    true,
-                                                                    true,
-                                                                    false,
-                                                                    true,
-                                                                    true,
-                                                                    false)),
-                                                                    (String
-                                                                    ((Ascii
-                                                                    (false,
-                                                                    false,
-                                                                    true,
-                                                                    false,
-                                                                    false,
-                                                                    true,
-                                                                    true,
-                                                                    false)),
-                                                                    (String
-                                                                    ((Ascii
-                                                                    (true,
-                                                                    false,
-                                                                    false,
-                                                                    true,
-                                                                    false,
-                                                                    true,
-                                                                    true,
-                                                                    false)),
-                                                                    (String
-                                                                    ((Ascii
-                                                                    (false,
-                                                                    true,
-                                                                    true,
-                                                                    false,
-                                                                    true,
-                                                                    true,
-                                                                    true,
-                                                                    false)),
-                                                                    (String
-                                                                    ((Ascii
-                                                                    (true,
-                                                                    false,
-                                                                    false,
-                                                                    true,
-                                                                    false,
-                                                                    true,
-                                                                    true,
-                                                                    false)),
-                                                                    (String
-                                                                    ((Ascii
-                                                                    (false,
-                                                                    false,
-                                                                    true,
-                                                                    false,
-                                                                    false,
-                                                                    true,
-                                                                    true,
-                                                                    false)),
-                                                                    (String
-                                                                    ((Ascii
-                                                                    (true,
-                                                                    false,
-                                                                    true,
-                                                                    false,
-                                                                    true,
-                                                                    true,
-                                                                    true,
-                                                                    false)),
-                                                                    (String
-                                                                    ((Ascii
-                                                                    (true,
-                                                                    false,
-                                                                    false,
-                                                                    false,
-                                                                    false,
-                                                                    true,
-                                                                    true,
-                                                                    false)),
-                                                                    (String
-                                                                    ((Ascii
-                                                                    (false,
-                                                                    false,
-                                                                    true,
-                                                                    true,
-                                                                    false,
-                                                                    true,
-                                                                    true,
-                                                                    false)),
-                                                                    (String
-                                                                    ((Ascii
-                                                                    (false,
-                                                                    true,
-                                                                    true,
-                                                                    true,
-                                                                    false,
-                                                                    false,
-                                                                    true,
-                                                                    false)),
-                                                                    (String
-                                                                    ((Ascii
-                                                                    (true,
-                                                                    false,
-                                                                    false,
-                                                                    false,
-                                                                    false,
-                                                                    true,
-                                                                    true,
-                                                                    false)),
-                                                                    (String
-                                                                    ((Ascii
-                                                                    (true,
-                                                                    false,
-                                                                    true,
-                                                                    true,
-                                                                    false,
-                                                                    true,
-                                                                    true,
-                                                                    false)),
-                                                                    (String
-                                                                    ((Ascii
-                                                                    (true,
-                                                                    false,
-                                                                    true,
-                                                                    false,
-                                                                    false,
-                                                                    true,
-                                                                    true,
-                                                                    false)),
-                                                                    EmptyString))))))))))))))))))))))))))))
-                                                                    []) :: (
-    (mkcut (S (S (S (S (S (S (S (S (S (S (S (S (S (S (S (S (S (S (S (S (S (S
-      (S (S (S (S (S (S (S (S (S (S (S (S (S (S (S (S (S (S (S (S (S (S (S (S
-      (S (S (S (S (S (S (S (S (S (S (S (S (S (S (S (S (S (S (S (S (S (S (S (S
-      (S (S (S (S (S (S
-      O))))))))))))))))))))))))))))))))))))))))))))))))))))))))))))))))))))))))))))
-      (S (S (S (S (S (S (S (S (S (S (S (S (S (S (S (S (S (S (S (S (S (S (S (S
-      (S (S (S (S (S (S (S (S (S (S (S (S (S (S (S (S (S (S (S (S (S (S (S (S
-      (S (S (S (S (S (S (S (S (S (S (S (S (S (S (S (S (S (S (S (S (S (S (S (S
-      (S (S (S (S (S (S
-      O))))))))))))))))))))))))))))))))))))))))))))))))))))))))))))))))))))))))))))))
-      (String ((Ascii (false, false, true, false, false, false, true,
-      false)), (String ((Ascii (true, false, false, true, false, true, true,
-      false)), (String ((Ascii (true, true, false, false, true, true, true,
-      false)), (String ((Ascii (true, true, false, false, false, true, true,
-      false)), (String ((Ascii (false, true, false, false, true, true, true,
-      false)), (String ((Ascii (true, false, true, false, false, true, true,
-      false)), (String ((Ascii (false, false, true, false, true, true, true,
-      false)), (String ((Ascii (true, false, false, true, false, true, true,
-      false)), (String ((Ascii (true, true, true, true, false, true, true,
-      false)), (String ((Ascii (false, true, true, true, false, true, true,
-      false)), (String ((Ascii (true, false, false, false, false, true, true,
-      false)), (String ((Ascii (false, true, false, false, true, true, true,
-      false)), (String ((Ascii (true, false, false, true, true, true, true,
-      false)), (String ((Ascii (false, false, true, false, false, false,
-      true, false)), (String ((Ascii (true, false, false, false, false, true,
-      true, false)), (String ((Ascii (false, false, true, false, true, true,
-      true, false)), (String ((Ascii (true, false, false, false, false, true,
-      true, false)), EmptyString)))))))))))))))))))))))))))))))))) []) :: (
-    (mkcut (S (S (S (S (S (S (S (S (S (S (S (S (S (S (S (S (S (S (S (S (S (S
-      (S (S (S (S (S (S (S (S (S (S (S (S (S (S (S (S (S (S (S (S (S (S (S (S
-      (S (S (S (S (S (S (S (S (S (S (S (S (S (S (S (S (S (S (S (S (S (S (S (S
-      (S (S (S (S (S (S (S (S
-      O))))))))))))))))))))))))))))))))))))))))))))))))))))))))))))))))))))))))))))))
-      (S (S (S (S (S (S (S (S (S (S (S (S (S (S (S (S (S (S (S (S (S (S (S (S
-      (S (S (S (S (S (S (S (S (S (S (S (S (S (S (S (S (S (S (S (S (S (S (S (S
-      (S (S (S (S (S (S (S (S (S (S (S (S (S (S (S (S (S (S (S (S (S (S (S (S
-      (S (S (S (S (S (S (S
-      O)))))))))))))))))))))))))))))))))))))))))))))))))))))))))))))))))))))))))))))))
-      (String ((Ascii (true, false, false, false, false, false, true,
-      false)), (String ((Ascii (false, false, true, false, false, true, true,
-      false)), (String ((Ascii (false, false, true, false, false, true, true,
-      false)), (String ((Ascii (true, false, true, false, false, true, true,
-      false)), (String ((Ascii (false, true, true, true, false, true, true,
-      false)), (String ((Ascii (false, false, true, false, false, true, true,
-      false)), (String ((Ascii (true, false, false, false, false, true, true,
-      false)), (String ((Ascii (false, true, false, false, true, false, true,
-      false)), (String ((Ascii (true, false, true, false, false, true, true,
-      false)), (String ((Ascii (true, true, false, false, false, true, true,
-      false)), (String ((Ascii (true, true, true, true, false, true, true,
-      false)), (String ((Ascii (false, true, false, false, true, true, true,
-      false)), (String ((Ascii (false, false, true, false, false, true, true,
-      false)), (String ((Ascii (true, false, false, true, false, false, true,
-      false)), (String ((Ascii (false, true, true, true, false, true, true,
-      false)), (String ((Ascii (false, false, true, false, false, true, true,
-      false)), (String ((Ascii (true, false, false, true, false, true, true,
-      false)), (String ((Ascii (true, true, false, false, false, true, true,
-      false)), (String ((Ascii (true, false, false, false, false, true, true,
-      false)), (String ((Ascii (false, false, true, false, true, true, true,
-      false)), (String ((Ascii (true, true, true, true, false, true, true,
-      false)), (String ((Ascii (false, true, false, false, true, true, true,
-      false)), EmptyString))))))))))))))))))))))))))))))))))))))))))))
-      ((String ((Ascii (false, false, false, false, true, true, true,
-      false)), (String ((Ascii (true, false, false, false, false, true, true,
-      false)), (String ((Ascii (false, true, false, false, true, true, true,
-      false)), (String ((Ascii (true, true, false, false, true, true, true,
-      false)), (String ((Ascii (true, false, true, false, false, true, true,
-      false)), (String ((Ascii (false, true, true, true, false, false, true,
-      false)), (String ((Ascii (true, false, true, false, true, true, true,
-      false)), (String ((Ascii (true, false, true, true, false, true, true,
-      false)), (String ((Ascii (false, true, true, false, false, false, true,
-      false)), (String ((Ascii (true, false, false, true, false, true, true,
-      false)), (String ((Ascii (true, false, true, false, false, true, true,
-      false)), (String ((Ascii (false, false, true, true, false, true, true,
-      false)), (String ((Ascii (false, false, true, false, false, true, true,
-      false)), EmptyString)))))))))))))))))))))))))) :: [])) :: ((mkcut (S (S
-                                                                   (S (S (S
-                                                                   (S (S (S
-                                                                   (S (S (S
-                                                                   (S (S (S
-                                                                   (S (S (S
-                                                                   (S (S (S
-                                                                   (S (S (S
-                                                                   (S (S (S
-                                                                   (S (S (S
-                                                                   (S (S (S
-                                                                   (S (S (S
-                                                                   (S (S (S
-                                                                   (S (S (S
-                                                                   (S (S (S
-                                                                   (S (S (S
-                                                                   (S (S (S
-                                                                   (S (S (S
-                                                                   (S (S (S
-                                                                   (S (S (S
-                                                                   (S (S (S
-                                                                   (S (S (S
-                                                                   (S (S (S
-                                                                   (S (S (S
-                                                                   (S (S (S
-                                                                   (S (S (S
-                                                                   (S (S
-                                                                   O)))))))))))))))))))))))))))))))))))))))))))))))))))))))))))))))))))))))))))))))
-                                                                   (S (S (S
-                                                                   (S (S (S
-                                                                   (S (S (S
-                                                                   (S (S (S
-                                                                   (S (S (S
-                                                                   (S (S (S
-                                                                   (S (S (S
-                                                                   (S (S (S
-                                                                   (S (S (S
-                                                                   (S (S (S
-                                                                   (S (S (S
-                                                                   (S (S (S
-                                                                   (S (S (S
-                                                                   (S (S (S
-                                                                   (S (S (S
-                                                                   (S (S (S
-                                                                   (S (S (S
-                                                                   (S (S (S
-                                                                   (S (S (S
-                                                                   (S (S (S
-                                                                   (S (S (S
-                                                                   (S (S (S
-                                                                   (S (S (S
-                                                                   (S (S (S
-                                                                   (S (S (S
-                                                                   (S (S (S
-                                                                   (S (S (S
-                                                                   (S (S (S
-                                                                   (S (S (S
-                                                                   (S (S (S
-                                                                   (S (S (S
-                                                                   (S
-                                                                   O))))))))))))))))))))))))))))))))))))))))))))))))))))))))))))))))))))))))))))))))))))))))))))))
-                                                                   (String
-                                                                   ((Ascii
-                                                                   (false,
-                                                                   false,
-                                                                   true,
-                                                                   false,
-                                                                   true,
-                                                                   false,
-                                                                   true,
-                                                                   false)),
-                                                                   (String
-                                                                   ((Ascii
-                                                                   (false,
-                                                                   true,
-                                                                   false,
-                                                                   false,
-                                                                   true,
-                                                                   true,
-                                                                   true,
-                                                                   false)),
-                                                                   (String
-                                                                   ((Ascii
-                                                                   (true,
-                                                                   false,
-                                                                   false,
-                                                                   false,
-                                                                   false,
-                                                                   true,
-                                                                   true,
-                                                                   false)),
-                                                                   (String
-                                                                   ((Ascii
-                                                                   (true,
-                                                                   true,
-                                                                   false,
-                                                                   false,
-                                                                   false,
-                                                                   true,
-                                                                   true,
-                                                                   false)),
-                                                                   (String
-                                                                   ((Ascii
-                                                                   (true,
-                                                                   false,
-                                                                   true,
-                                                                   false,
-                                                                   false,
-                                                                   true,
-                                                                   true,
-                                                                   false)),
-                                                                   (String
-                                                                   ((Ascii
-                                                                   (false,
-                                                                   true,
-                                                                   true,
-                                                                   true,
-                                                                   false,
-                                                                   false,
-                                                                   true,
-                                                                   false)),
-                                                                   (String
-                                                                   ((Ascii
-                                                                   (true,
-                                                                   false,
-                                                                   true,
-                                                                   false,
-                                                                   true,
-                                                                   true,
-                                                                   true,
-                                                                   false)),
-                                                                   (String
-                                                                   ((Ascii
-                                                                   (true,
-                                                                   false,
-                                                                   true,
-                                                                   true,
-                                                                   false,
-                                                                   true,
-                                                                   true,
-                                                                   false)),
-                                                                   (String
-                                                                   ((Ascii
-                                                                   (false,
-                                                                   true,
-                                                                   false,
-                                                                   false,
-                                                                   false,
-                                                                   true,
-                                                                   true,
-                                                                   false)),
-                                                                   (String
-                                                                   ((Ascii
-                                                                   (true,
-                                                                   false,
-                                                                   true,
-                                                                   false,
-                                                                   false,
-                                                                   true,
-                                                                   true,
-                                                                   false)),
-                                                                   (String
-                                                                   ((Ascii
-                                                                   (false,
-                                                                   true,
-                                                                   false,
-                                                                   false,
-                                                                   true,
-                                                                   true,
-                                                                   true,
-                                                                   false)),
-                                                                   EmptyString))))))))))))))))))))))
-                                                                   []) :: []))))))))))) }
-
-(** val l_FileControl : layout **)
-
-let l_FileControl =
-  { l_name = (String ((Ascii (false, true, true, false, false, false, true,
-    false)), (String ((Ascii (true, false, false, true, false, true, true,
-    false)), (String ((Ascii (false, false, true, true, false, true, true,
-    false)), (String ((Ascii (true, false, true, false, false, true, true,
-    false)), (String ((Ascii (true, true, false, false, false, false, true,
-    false)), (String ((Ascii (true, true, true, true, false, true, true,
-    false)), (String ((Ascii (false, true, true, true, false, true, true,
-    false)), (String ((Ascii (false, false, true, false, true, true, true,
-    false)), (String ((Ascii (false, true, false, false, true, true, true,
-    false)), (String ((Ascii (true, true, true, true, false, true, true,
-    false)), (String ((Ascii (false, false, true, true, false, true, true,
-    false)), EmptyString)))))))))))))))))))))); l_ix = IRune; l_segs = ((SLit
-    ((Npos (XI (XO (XO (XI (XI XH)))))) :: [])) :: ((SNum ((String ((Ascii
-    (false, true, false, false, false, false, true, false)), (String ((Ascii
-    (true, false, false, false, false, true, true, false)), (String ((Ascii
-    (false, false, true, false, true, true, true, false)), (String ((Ascii
-    (true, true, false, false, false, true, true, false)), (String ((Ascii
-    (false, false, false, true, false, true, true, false)), (String ((Ascii
-    (true, true, false, false, false, false, true, false)), (String ((Ascii
-    (true, true, true, true, false, true, true, false)), (String ((Ascii
-    (true, false, true, false, true, true, true, false)), (String ((Ascii
-    (false, true, true, true, false, true, true, false)), (String ((Ascii
-    (false, false, true, false, true, true, true, false)),
-    EmptyString)))))))))))))))))))), (S (S (S (S (S (S O)))))))) :: ((SNum
-    ((String ((Ascii (false, true, false, false, false, false, true, false)),
-    (String ((Ascii (false, false, true, true, false, true, true, false)),
-    (String ((Ascii (true, true, true, true, false, true, true, false)),
-    (String ((Ascii (true, true, false, false, false, true, true, false)),
-    (String ((Ascii (true, true, false, true, false, true, true, false)),
-    (String ((Ascii (true, true, false, false, false, false, true, false)),
-    (String ((Ascii (true, true, true, true, false, true, true, false)),
-    (String ((Ascii (true, false, true, false, true, true, true, false)),
-    (String ((Ascii (false, true, true, true, false, true, true, false)),
-    (String ((Ascii (false, false, true, false, true, true, true, false)),
-    EmptyString)))))))))))))))))))), (S (S (S (S (S (S O)))))))) :: ((SNum
-    ((String ((Ascii (true, false, true, false, false, false, true, false)),
-    (String ((Ascii (false, true, true, true, false, true, true, false)),
-    (String ((Ascii (false, false, true, false, true, true, true, false)),
-    (String ((Ascii (false, true, false, false, true, true, true, false)),
-    (String ((Ascii (true, false, false, true, true, true, true, false)),
-    (String ((Ascii (true, false, false, false, false, false, true, false)),
-    (String ((Ascii (false, false, true, false, false, true, true, false)),
-    (String ((Ascii (false, false, true, false, false, true, true, false)),
-    (String ((Ascii (true, false, true, false, false, true, true, false)),
-    (String ((Ascii (false, true, true, true, false, true, true, false)),
-    (String ((Ascii (false, false, true, false, false, true, true, false)),
-    (String ((Ascii (true, false, false, false, false, true, true, false)),
-    (String ((Ascii (true, true, false, false, false, false, true, false)),
-    (String ((Ascii (true, true, true, true, false, true, true, false)),
-    (String ((Ascii (true, false, true, false, true, true, true, false)),
-    (String ((Ascii (false, true, true, true, false, true, true, false)),
-    (String ((Ascii (false, false, true, false, true, true, true, false)),
-    EmptyString)))))))))))))))))))))))))))))))))), (S (S (S (S (S (S (S (S
-    O)))))))))) :: ((SNum ((String ((Ascii (true, false, true, false, false,
-    false, true, false)), (String ((Ascii (false, true, true, true, false,
-    true, true, false)), (String ((Ascii (false, false, true, false, true,
-    true, true, false)), (String ((Ascii (false, true, false, false, true,
-    true, true, false)), (String ((Ascii (true, false, false, true, true,
-    true, true, false)), (String ((Ascii (false, false, false, true, false,
-    false, true, false)), (String ((Ascii (true, false, false, false, false,
-    true, true, false)), (String ((Ascii (true, true, false, false, true,
-    true, true, false)), (String ((Ascii (false, false, false, true, false,
-    true, true, false)), EmptyString)))))))))))))))))), (S (S (S (S (S (S (S
-    (S (S (S O)))))))))))) :: ((SNum ((String ((Ascii (false, false, true,
-    false, true, false, true, false)), (String ((Ascii (true, true, true,
-    true, false, true, true, false)), (String ((Ascii (false, false, true,
-    false, true, true, true, false)), (String ((Ascii (true, false, false,
-    false, false, true, true, false)), (String ((Ascii (false, false, true,
-    true, false, true, true, false)), (String ((Ascii (false, false, true,
-    false, false, false, true, false)), (String ((Ascii (true, false, true,
-    false, false, true, true, false)), (String ((Ascii (false, true, false,
-    false, false, true, true, false)), (String ((Ascii (true, false, false,
-    true, false, true, true, false)), (String ((Ascii (false, false, true,
-    false, true, true, true, false)), (String ((Ascii (true, false, true,
-    false, false, false, true, false)), (String ((Ascii (false, true, true,
-    true, false, true, true, false)), (String ((Ascii (false, false, true,
-    false, true, true, true, false)), (String ((Ascii (false, true, false,
-    false, true, true, true, false)), (String ((Ascii (true, false, false,
-    true, true, true, true, false)), (String ((Ascii (false, false, true,
-    false, false, false, true, false)), (String ((Ascii (true, true, true,
-    true, false, true, true, false)), (String ((Ascii (false, false, true,
-    true, false, true, true, false)), (String ((Ascii (false, false, true,
-    true, false, true, true, false)), (String ((Ascii (true, false, false,
-    false, false, true, true, false)), (String ((Ascii (false, true, false,
-    false, true, true, true, false)), (String ((Ascii (true, false, false,
-    false, false, false, true, false)), (String ((Ascii (true, false, true,
-    true, false, true, true, false)), (String ((Ascii (true, true, true,
-    true, false, true, true, false)), (String ((Ascii (true, false, true,
-    false, true, true, true, false)), (String ((Ascii (false, true, true,
-    true, false, true, true, false)), (String ((Ascii (false, false, true,
-    false, true, true, true, false)), (String ((Ascii (true, false, false,
-    true, false, false, true, false)), (String ((Ascii (false, true, true,
-    true, false, true, true, false)), (String ((Ascii (false, true, true,
-    false, false, false, true, false)), (String ((Ascii (true, false, false,
-    true, false, true, true, false)), (String ((Ascii (false, false, true,
-    true, false, true, true, false)), (String ((Ascii (true, false, true,
-    false, false, true, true, false)),
-    EmptyString)))))))))))))))))))))))))))))))))))))))))))))))))))))))))))))))))),
-    (S (S (S (S (S (S (S (S (S (S (S (S O)))))))))))))) :: ((SNum ((String
-    ((Ascii (false, false, true, false, true, false, true, false)), (String
-    ((Ascii (true, true, true, true, false, true, true, false)), (String
-    ((Ascii (false, false, true, false, true, true, true, false)), (String
-    ((Ascii (true, false, false, false, false, true, true, false)), (String
-    ((Ascii (false, false, true, true, false, true, true, false)), (String
-    ((Ascii (true, true, false, false, false, false, true, false)), (String
-    ((Ascii (false, true, false, false, true, true, true, false)), (String
-    ((Ascii (true, false, true, false, false, true, true, false)), (String
-    ((Ascii (false, false, true, false, false, true, true, false)), (String
-    ((Ascii (true, false, false, true, false, true, true, false)), (String
-    ((Ascii (false, false, true, false, true, true, true, false)), (String
-    ((Ascii (true, false, true, false, false, false, true, false)), (String
-    ((Ascii (false, true, true, true, false, true, true, false)), (String
-    ((Ascii (false, false, true, false, true, true, true, false)), (String
-    ((Ascii (false, true, false, false, true, true, true, false)), (String
-    ((Ascii (true, false, false, true, true, true, true, false)), (String
-    ((Ascii (false, false, true, false, false, false, true, false)), (String
-    ((Ascii (true, true, true, true, false, true, true, false)), (String
-    ((Ascii (false, false, true, true, false, true, true, false)), (String
-    ((Ascii (false, false, true, true, false, true, true, false)), (String
-    ((Ascii (true, false, false, false, false, true, true, false)), (String
-    ((Ascii (false, true, false, false, true, true, true, false)), (String
-    ((Ascii (true, false, false, false, false, false, true, false)), (String
-    ((Ascii (true, false, true, true, false, true, true, false)), (String
-    ((Ascii (true, true, true, true, false, true, true, false)), (String
-    ((Ascii (true, false, true, false, true, true, true, false)), (String
-    ((Ascii (false, true, true, true, false, true, true, false)), (String
-    ((Ascii (false, false, true, false, true, true, true, false)), (String
-    ((Ascii (true, false, false, true, false, false, true, false)), (String
-    ((Ascii (false, true, true, true, false, true, true, false)), (String
-    ((Ascii (false, true, true, false, false, false, true, false)), (String
-    ((Ascii (true, false, false, true, false, true, true, false)), (String
-    ((Ascii (false, false, true, true, false, true, true, false)), (String
-    ((Ascii (true, false, true, false, false, true, true, false)),
-    EmptyString)))))))))))))))))))))))))))))))))))))))))))))))))))))))))))))))))))),
-    (S (S (S (S (S (S (S (S (S (S (S (S O)))))))))))))) :: ((SLit ((Npos (XO
-    (XO (XO (XO (XO XH)))))) :: ((Npos (XO (XO (XO (XO (XO XH)))))) :: ((Npos
-    (XO (XO (XO (XO (XO XH)))))) :: ((Npos (XO (XO (XO (XO (XO
-    XH)))))) :: ((Npos (XO (XO (XO (XO (XO XH)))))) :: ((Npos (XO (XO (XO (XO
-    (XO XH)))))) :: ((Npos (XO (XO (XO (XO (XO XH)))))) :: ((Npos (XO (XO (XO
-    (XO (XO XH)))))) :: ((Npos (XO (XO (XO (XO (XO XH)))))) :: ((Npos (XO (XO
-    (XO (XO (XO XH)))))) :: ((Npos (XO (XO (XO (XO (XO XH)))))) :: ((Npos (XO
-    (XO (XO (XO (XO XH)))))) :: ((Npos (XO (XO (XO (XO (XO XH)))))) :: ((Npos
-    (XO (XO (XO (XO (XO XH)))))) :: ((Npos (XO (XO (XO (XO (XO
-    XH)))))) :: ((Npos (XO (XO (XO (XO (XO XH)))))) :: ((Npos (XO (XO (XO (XO
-    (XO XH)))))) :: ((Npos (XO (XO (XO (XO (XO XH)))))) :: ((Npos (XO (XO (XO
-    (XO (XO XH)))))) :: ((Npos (XO (XO (XO (XO (XO XH)))))) :: ((Npos (XO (XO
-    (XO (XO (XO XH)))))) :: ((Npos (XO (XO (XO (XO (XO XH)))))) :: ((Npos (XO
-    (XO (XO (XO (XO XH)))))) :: ((Npos (XO (XO (XO (XO (XO XH)))))) :: ((Npos
-    (XO (XO (XO (XO (XO XH)))))) :: ((Npos (XO (XO (XO (XO (XO
-    XH)))))) :: ((Npos (XO (XO (XO (XO (XO XH)))))) :: ((Npos (XO (XO (XO (XO
-    (XO XH)))))) :: ((Npos (XO (XO (XO (XO (XO XH)))))) :: ((Npos (XO (XO (XO
-    (XO (XO XH)))))) :: ((Npos (XO (XO (XO (XO (XO XH)))))) :: ((Npos (XO (XO
-    (XO (XO (XO XH)))))) :: ((Npos (XO (XO (XO (XO (XO XH)))))) :: ((Npos (XO
-    (XO (XO (XO (XO XH)))))) :: ((Npos (XO (XO (XO (XO (XO XH)))))) :: ((Npos
-    (XO (XO (XO (XO (XO XH)))))) :: ((Npos (XO (XO (XO (XO (XO
-    XH)))))) :: ((Npos (XO (XO (XO (XO (XO XH)))))) :: ((Npos (XO (XO (XO (XO
-    (XO XH)))))) :: [])))))))))))))))))))))))))))))))))))))))) :: []))))))));
-    l_cuts =
-    ((mkcut O (S O) EmptyString []) :: ((mkcut (S O) (S (S (S (S (S (S (S
-                                          O))))))) (String ((Ascii (false,
-                                          true, false, false, false, false,
-                                          true, false)), (String ((Ascii
-                                          (true, false, false, false, false,
-                                          true, true, false)), (String
-                                          ((Ascii (false, false, true, false,
-                                          true, true, true, false)), (String
-                                          ((Ascii (true, true, false, false,
-                                          false, true, true, false)), (String
-                                          ((Ascii (false, false, false, true,
-                                          false, true, true, false)), (String
-                                          ((Ascii (true, true, false, false,
-                                          false, false, true, false)),
-                                          (String ((Ascii (true, true, true,
-                                          true, false, true, true, false)),
-                                          (String ((Ascii (true, false, true,
-                                          false, true, true, true, false)),
-                                          (String ((Ascii (false, true, true,
-                                          true, false, true, true, false)),
-                                          (String ((Ascii (false, false,
-                                          true, false, true, true, true,
-                                          false)),
-                                          EmptyString))))))))))))))))))))
-                                          ((String ((Ascii (false, false,
-                                          false, false, true, true, true,
-                                          false)), (String ((Ascii (true,
-                                          false, false, false, false, true,
-                                          true, false)), (String ((Ascii
-                                          (false, true, false, false, true,
-                                          true, true, false)), (String
-                                          ((Ascii (true, true, false, false,
-                                          true, true, true, false)), (String
-                                          ((Ascii (true, false, true, false,
-                                          false, true, true, false)), (String
-                                          ((Ascii (false, true, true, true,
-                                          false, false, true, false)),
-                                          (String ((Ascii (true, false, true,
-                                          false, true, true, true, false)),
-                                          (String ((Ascii (true, false, true,
-                                          true, false, true, true, false)),
-                                          (String ((Ascii (false, true, true,
-                                          false, false, false, true, false)),
-                                          (String ((Ascii (true, false,
-                                          false, true, false, true, true,
-                                          false)), (String ((Ascii (true,
-                                          false, true, false, false, true,
-                                          true, false)), (String ((Ascii
-                                          (false, false, true, true, false,
-                                          true, true, false)), (String
-                                          ((Ascii (false, false, true, false,
-                                          false, true, true, false)),
-                                          EmptyString)))))))))))))))))))))))))) :: [])) :: (
-    (mkcut (S (S (S (S (S (S (S O))))))) (S (S (S (S (S (S (S (S (S (S (S (S
-      (S O))))))))))))) (String ((Ascii (false, true, false, false, false,
-      false, true, false)), (String ((Ascii (false, false, true, true, false,
-      true, true, false)), (String ((Ascii (true, true, true, true, false,
-      true, true, false)), (String ((Ascii (true, true, false, false, false,
-      true, true, false)), (String ((Ascii (true, true, false, true, false,
-      true, true, false)), (String ((Ascii (true, true, false, false, false,
-      false, true, false)), (String ((Ascii (true, true, true, true, false,
-      true, true, false)), (String ((Ascii (true, false, true, false, true,
-      true, true, false)), (String ((Ascii (false, true, true, true, false,
-      true, true, false)), (String ((Ascii (false, false, true, false, true,
-      true, true, false)), EmptyString)))))))))))))))))))) ((String ((Ascii
-      (false, false, false, false, true, true, true, false)), (String ((Ascii
-      (true, false, false, false, false, true, true, false)), (String ((Ascii
-      (false, true, false, false, true, true, true, false)), (String ((Ascii
-      (true, true, false, false, true, true, true, false)), (String ((Ascii
-      (true, false, true, false, false, true, true, false)), (String ((Ascii
-      (false, true, true, true, false, false, true, false)), (String ((Ascii
-      (true, false, true, false, true, true, true, false)), (String ((Ascii
-      (true, false, true, true, false, true, true, false)), (String ((Ascii
-      (false, true, true, false, false, false, true, false)), (String ((Ascii
-      (true, false, false, true, false, true, true, false)), (String ((Ascii
-      (true, false, true, false, false, true, true, false)), (String ((Ascii
-      (false, false, true, true, false, true, true, false)), (String ((Ascii
-      (false, false, true, false, false, true, true, false)),
-      EmptyString)))))))))))))))))))))))))) :: [])) :: ((mkcut (S (S (S (S (S
-                                                          (S (S (S (S (S (S
-                                                          (S (S
-                                                          O))))))))))))) (S
-                                                          (S (S (S (S (S (S
-                                                          (S (S (S (S (S (S
-                                                          (S (S (S (S (S (S
-                                                          (S (S
-                                                          O)))))))))))))))))))))
-                                                          (String ((Ascii
-                                                          (true, false, true,
-                                                          false, false,
-                                                          false, true,
-                                                          false)), (String
-                                                          ((Ascii (false,
-                                                          true, true, true,
-                                                          false, true, true,
-                                                          false)), (String
-                                                          ((Ascii (false,
-                                                          false, true, false,
-                                                          true, true, true,
-                                                          false)), (String
-                                                          ((Ascii (false,
-                                                          true, false, false,
-                                                          true, true, true,
-                                                          false)), (String
-                                                          ((Ascii (true,
-                                                          false, false, true,
-                                                          true, true, true,
-                                                          false)), (String
-                                                          ((Ascii (true,
-                                                          false, false,
-                                                          false, false,
-                                                          false, true,
-                                                          false)), (String
-                                                          ((Ascii (false,
-                                                          false, true, false,
-                                                          false, true, true,
-                                                          false)), (String
-                                                          ((Ascii (false,
-                                                          false, true, false,
-                                                          false, true, true,
-                                                          false)), (String
-                                                          ((Ascii (true,
-                                                          false, true, false,
-                                                          false, true, true,
-                                                          false)), (String
-                                                          ((Ascii (false,
-                                                          true, true, true,
-                                                          false, true, true,
-                                                          false)), (String
-                                                          ((Ascii (false,
-                                                          false, true, false,
-                                                          false, true, true,
-                                                          false)), (String
-                                                          ((Ascii (true,
-                                                          false, false,
-                                                          false, false, true,
-                                                          true, false)),
-                                                          (String ((Ascii
-                                                          (true, true, false,
-                                                          false, false,
-                                                          false, true,
-                                                          false)), (String
-                                                          ((Ascii (true,
-                                                          true, true, true,
-                                                          false, true, true,
-                                                          false)), (String
-                                                          ((Ascii (true,
-                                                          false, true, false,
-                                                          true, true, true,
-                                                          false)), (String
-                                                          ((Ascii (false,
-                                                          true, true, true,
-                                                          false, true, true,
-                                                          false)), (String
-                                                          ((Ascii (false,
-                                                          false, true, false,
-                                                          true, true, true,
-                                                          false)),
-                                                          EmptyString))))))))))))))))))))))))))))))))))
-                                                          ((String ((Ascii
-                                                          (false, false,
-                                                          false, false, true,
-                                                          true, true,
-                                                          false)), (String
-                                                          ((Ascii (true,
-                                                          false, false,
-                                                          false, false, true,
-                                                          true, false)),
-                                                          (String ((Ascii
-                                                          (false, true,
-                                                          false, false, true,
-                                                          true, true,
-                                                          false)), (String
-                                                          ((Ascii (true,
-                                                          true, false, false,
-                                                          true, true, true,
-                                                          false)), (String
-                                                          ((Ascii (true,
-                                                          false, true, false,
-                                                          false, true, true,
-                                                          false)), (String
-                                                          ((Ascii (false,
-                                                          true, true, true,
-                                                          false, false, true,
-                                                          false)), (String
-                                                          ((Ascii (true,
-                                                          false, true, false,
-                                                          true, true, true,
-                                                          false)), (String
-                                                          ((Ascii (true,
-                                                          false, true, true,
-                                                          false, true, true,
-                                                          false)), (String
-                                                          ((Ascii (false,
-                                                          true, true, false,
-                                                          false, false, true,
-                                                          false)), (String
-                                                          ((Ascii (true,
-                                                          false, false, true,
-                                                          false, true, true,
-                                                          false)), (String
-                                                          ((Ascii (true,
-                                                          false, true, false,
-                                                          false, true, true,
-                                                          false)), (String
-                                                          ((Ascii (false,
-                                                          false, true, true,
-                                                          false, true, true,
-                                                          false)), (String
-                                                          ((Ascii (false,
-                                                          false, true, false,
-                                                          false, true, true,
-                                                          false)),
-                                                          EmptyString)))))))))))))))))))))))))) :: [])) :: (
-    (mkcut (S (S (S (S (S (S (S (S (S (S (S (S (S (S (S (S (S (S (S (S (S
-      O))))))))))))))))))))) (S (S (S (S (S (S (S (S (S (S (S (S (S (S (S (S
-      (S (S (S (S (S (S (S (S (S (S (S (S (S (S (S
-      O))))))))))))))))))))))))))))))) (String ((Ascii (true, false, true,
-      false, false, false, true, false)), (String ((Ascii (false, true, true,
-      true, false, true, true, false)), (String ((Ascii (false, false, true,
-      false, true, true, true, false)), (String ((Ascii (false, true, false,
-      false, true, true, true, false)), (String ((Ascii (true, false, false,
-      true, true, true, true, false)), (String ((Ascii (false, false, false,
-      true, false, false, true, false)), (String ((Ascii (true, false, false,
-      false, false, true, true, false)), (String ((Ascii (true, true, false,
-      false, true, true, true, false)), (String ((Ascii (false, false, false,
-      true, false, true, true, false)), EmptyString))))))))))))))))))
-      ((String ((Ascii (false, false, false, false, true, true, true,
-      false)), (String ((Ascii (true, false, false, false, false, true, true,
-      false)), (String ((Ascii (false, true, false, false, true, true, true,
-      false)), (String ((Ascii (true, true, false, false, true, true, true,
-      false)), (String ((Ascii (true, false, true, false, false, true, true,
-      false)), (String ((Ascii (false, true, true, true, false, false, true,
-      false)), (String ((Ascii (true, false, true, false, true, true, true,
-      false)), (String ((Ascii (true, false, true, true, false, true, true,
-      false)), (String ((Ascii (false, true, true, false, false, false, true,
-      false)), (String ((Ascii (true, false, false, true, false, true, true,
-      false)), (String ((Ascii (true, false, true, false, false, true, true,
-      false)), (String ((Ascii (false, false, true, true, false, true, true,
-      false)), (String ((Ascii (false, false, true, false, false, true, true,
-      false)), EmptyString)))))))))))))))))))))))))) :: [])) :: ((mkcut (S (S
-                                                                   (S (S (S
-                                                                   (S (S (S
-                                                                   (S (S (S
-                                                                   (S (S (S
-                                                                   (S (S (S
-                                                                   (S (S (S
-                                                                   (S (S (S
-                                                                   (S (S (S
-                                                                   (S (S (S
-                                                                   (S (S
-                                                                   O)))))))))))))))))))))))))))))))
-                                                                   (S (S (S
-                                                                   (S (S (S
-                                                                   (S (S (S
-                                                                   (S (S (S
-                                                                   (S (S (S
-                                                                   (S (S (S
-                                                                   (S (S (S
-                                                                   (S (S (S
-                                                                   (S (S (S
-                                                                   (S (S (S
-                                                                   (S (S (S
-                                                                   (S (S (S
-                                                                   (S (S (S
-                                                                   (S (S (S
-                                                                   (S
-                                                                   O)))))))))))))))))))))))))))))))))))))))))))
-                                                                   (String
-                                                                   ((Ascii
-                                                                   (false,
-                                                                   false,
-                                                                   true,
-                                                                   false,
-                                                                   true,
-                                                                   false,
-                                                                   true,
-                                                                   false)),
-                                                                   (String
-                                                                   ((Ascii
-                                                                   (true,
-                                                                   true,
-                                                                   true,
-                                                                   true,
-                                                                   false,
-                                                                   true,
-                                                                   true,
-                                                                   false)),
-                                                                   (String
-                                                                   ((Ascii
-                                                                   (false,
-                                                                   false,
-                                                                   true,
-                                                                   false,
-                                                                   true,
-                                                                   true,
-                                                                   true,
-                                                                   false)),
-                                                                   (String
-                                                                   ((Ascii
-                                                                   (true,
-                                                                   false,
-                                                                   false,
-                                                                   false,
-                                                                   false,
-                                                                   true,
-                                                                   true,
-                                                                   false)),
-                                                                   (String
-                                                                   ((Ascii
-                                                                   (false,
-                                                                   false,
-                                                                   true,
-                                                                   true,
-                                                                   false,
-                                                                   true,
-                                                                   true,
-                                                                   false)),
-                                                                   (String
-                                                                   ((Ascii
-                                                                   (false,
-                                                                   false,
-                                                                   true,
-                                                                   false,
-                                                                   false,
-                                                                   false,
-                                                                   true,
-                                                                   false)),
-                                                                   (String
-                                                                   ((Ascii
-                                                                   (true,
-                                                                   false,
-                                                                   true,
-                                                                   false,
-                                                                   false,
-                                                                   true,
-                                                                   true,
-                                                                   false)),
-                                                                   (String
-                                                                   ((Ascii
-                                                                   (false,
-                                                                   true,
-                                                                   false,
-                                                                   false,
-                                                                   false,
-                                                                   true,
-                                                                   true,
-                                                                   false)),
-                                                                   (String
-                                                                   ((Ascii
-                                                                   (true,
-                                                                   false,
-                                                                   false,
-                                                                   true,
-                                                                   false,
-                                                                   true,
-                                                                   true,
-                                                                   false)),
-                                                                   (String
-                                                                   ((Ascii
-                                                                   (false,
-                                                                   false,
-                                                                   true,
-                                                                   false,
-                                                                   true,
-                                                                   true,
-                                                                   true,
-                                                                   false)),
-                                                                   (String
-                                                                   ((Ascii
-                                                                   (true,
-                                                                   false,
-                                                                   true,
-                                                                   false,
-                                                                   false,
-                                                                   false,
-                                                                   true,
-                                                                   false)),
-                                                                   (String
-                                                                   ((Ascii
-                                                                   (false,
-                                                                   true,
-                                                                   true,
-                                                                   true,
-                                                                   false,
-                                                                   true,
-                                                                   true,
-                                                                   false)),
-                                                                   (String
-                                                                   ((Ascii
-                                                                   (false,
-                                                                   false,
-                                                                   true,
-                                                                   false,
-                                                                   true,
-                                                                   true,
-                                                                   true,
-                                                                   false)),
-                                                                   (String
-                                                                   ((Ascii
-                                                                   (false,
-                                                                   true,
-                                                                   false,
-                                                                   false,
-                                                                   true,
-                                                                   true,
-                                                                   true,
-                                                                   false)),
-                                                                   (String
-                                                                   ((Ascii
-                                                                   (true,
-                                                                   false,
-                                                                   false,
-                                                                   true,
-                                                                   true,
-                                                                   true,
-                                                                   true,
-                                                                   false)),
-                                                                   (String
-                                                                   ((Ascii
-                                                                   (false,
-                                                                   false,
-                                                                   true,
-                                                                   false,
-                                                                   false,
-                                                                   false,
-                                                                   true,
-                                                                   false)),
-                                                                   (String
-                                                                   ((Ascii
-                                                                   (true,
-                                                                   true,
-                                                                   true,
-                                                                   true,
-                                                                   false,
-                                                                   true,
-                                                                   true,
-                                                                   false)),
-                                                                   (String
-                                                                   ((Ascii
-                                                                   (false,
-                                                                   false,
-                                                                   true,
-                                                                   true,
-                                                                   false,
-                                                                   true,
-                                                                   true,
-                                                                   false)),
-                                                                   (String
-                                                                   ((Ascii
-                                                                   (false,
-                                                                   false,
-                                                                   true,
-                                                                   true,
-                                                                   false,
-                                                                   true,
-                                                                   true,
-                                                                   false)),
-                                                                   (String
-                                                                   ((Ascii
-                                                                   (true,
-                                                                   false,
-                                                                   false,
-                                                                   false,
-                                                                   false,
-                                                                   true,
-                                                                   true,
-                                                                   false)),
-                                                                   (String
-                                                                   ((Ascii
-                                                                   (false,
-                                                                   true,
-                                                                   false,
-                                                                   false,
-                                                                   true,
-                                                                   true,
-                                                                   true,
-                                                                   false)),
-                                                                   (String
-                                                                   ((Ascii
-                                                                   (true,
-                                                                   false,
-                                                                   false,
-                                                                   false,
-                                                                   false,
-                                                                   false,
-                                                                   true,
-                                                                   false)),
-                                                                   (String
-                                                                   ((Ascii
-                                                                   (true,
-                                                                   false,
-                                                                   true,
-                                                                   true,
-                                                                   false,
-                                                                   true,
-                                                                   true,
-                                                                   false)),
-                                                                   (String
-                                                                   ((Ascii
-                                                                   (true,
-                                                                   true,
-                                                                   true,
-                                                                   true,
-                                                                   false,
-                                                                   true,
-                                                                   true,
-                                                                   false)),
-                                                                   (String
-                                                                   ((Ascii
-                                                                   (true,
-                                                                   false,
-                                                                   true,
-                                                                   false,
-                                                                   true,
-                                                                   true,
-                                                                   true,
-                                                                   false)),
-                                                                   (String
-                                                                   ((Ascii
-                                                                   (false,
-                                                                   true,
-                                                                   true,
-                                                                   true,
-                                                                   false,
-                                                                   true,
-                                                                   true,
-                                                                   false)),
-                                                                   (String
-                                                                   ((Ascii
-                                                                   (false,
-                                                                   false,
-                                                                   true,
-                                                                   false,
-                                                                   true,
-                                                                   true,
-                                                                   true,
-                                                                   false)),
-                                                                   (String
-                                                                   ((Ascii
-                                                                   (true,
-                                                                   false,
-                                                                   false,
-                                                                   true,
-                                                                   false,
-                                                                   false,
-                                                                   true,
-                                                                   false)),
-                                                                   (String
-                                                                   ((Ascii
-                                                                   (false,
-                                                                   true,
-                                                                   true,
-                                                                   true,
-                                                                   false,
-                                                                   true,
-                                                                   true,
-                                                                   false)),
-                                                                   (String
-                                                                   ((Ascii
-                                                                   (false,
-                                                                   true,
-                                                                   true,
-                                                                   false,
-                                                                   false,
-                                                                   false,
-                                                                   true,
-                                                                   false)),
-                                                                   (String
-                                                                   ((Ascii
-                                                                   (true,
-                                                                   false,
-                                                                   false,
-                                                                   true,
-                                                                   false,
-                                                                   true,
-                                                                   true,
-                                                                   false)),
-                                                                   (String
-                                                                   ((Ascii
-                                                                   (false,
-                                                                   false,
-                                                                   true,
-                                                                   true,
-                                                                   false,
-                                                                   true,
-                                                                   true,
-                                                                   false)),
-                                                                   (String
-                                                                   ((Ascii
-                                                                   (true,
-                                                                   false,
-                                                                   true,
-                                                                   false,
-                                                                   false,
-                                                                   true,
-                                                                   true,
-                                                                   false)),
-                                                                   EmptyString))))))))))))))))))))))))))))))))))))))))))))))))))))))))))))))))))
-                                                                   ((String
-                                                                   ((Ascii
-                                                                   (false,
-                                                                   false,
-                                                                   false,
-                                                                   false,
-                                                                   true,
-                                                                   true,
-                                                                   true,
-                                                                   false)),
-                                                                   (String
-                                                                   ((Ascii
-                                                                   (true,
-                                                                   false,
-                                                                   false,
-                                                                   false,
-                                                                   false,
-                                                                   true,
-                                                                   true,
-                                                                   false)),
-                                                                   (String
-                                                                   ((Ascii
-                                                                   (false,
-                                                                   true,
-                                                                   false,
-                                                                   false,
-                                                                   true,
-                                                                   true,
-                                                                   true,
-                                                                   false)),
-                                                                   (String
-                                                                   ((Ascii
-                                                                   (true,
-                                                                   true,
-                                                                   false,
-                                                                   false,
-                                                                   true,
-                                                                   true,
-                                                                   true,
-                                                                   false)),
-                                                                   (String
-                                                                   ((Ascii
-                                                                   (true,
-                                                                   false,
-                                                                   true,
-                                                                   false,
-                                                                   false,
-                                                                   true,
-                                                                   true,
-                                                                   false)),
-                                                                   (String
-                                                                   ((Ascii
-                                                                   (false,
-                                                                   true,
-                                                                   true,
-                                                                   true,
-                                                                   false,
-                                                                   false,
-                                                                   true,
-                                                                   false)),
-                                                                   (String
-                                                                   ((Ascii
-                                                                   (true,
-                                                                   false,
-                                                                   true,
-                                                                   false,
-                                                                   true,
-                                                                   true,
-                                                                   true,
-                                                                   false)),
-                                                                   (String
-                                                                   ((Ascii
-                                                                   (true,
-                                                                   false,
-                                                                   true,
-                                                                   true,
-                                                                   false,
-                                                                   true,
-                                                                   true,
-                                                                   false)),
-                                                                   (String
-                                                                   ((Ascii
-                                                                   (false,
-                                                                   true,
-                                                                   true,
-                                                                   false,
-                                                                   false,
-                                                                   false,
-                                                                   true,
-                                                                   false)),
-                                                                   (String
-                                                                   ((Ascii
-                                                                   (true,
-                                                                   false,
-                                                                   false,
-                                                                   true,
-                                                                   false,
-                                                                   true,
-                                                                   true,
-                                                                   false)),
-                                                                   (String
-                                                                   ((Ascii
-                                                                   (true,
-                                                                   false,
-                                                                   true,
-                                                                   false,
-                                                                   false,
-                                                                   true,
-                                                                   true,
-                                                                   false)),
-                                                                   (String
-                                                                   ((Ascii
-                                                                   (false,
-                                                                   false,
-                                                                   true,
-                                                                   true,
-                                                                   false,
-                                                                   true,
-                                                                   true,
-                                                                   false)),
-                                                                   (String
-                                                                   ((Ascii
-                                                                   (false,
-                                                                   false,
-                                                                   true,
-                                                                   false,
-                                                                   false,
-                                                                   true,
-                                                                   true,
-                                                                   false)),
-                                                                   EmptyString)))))))))))))))))))))))))) :: [])) :: (
-    (mkcut (S (S (S (S (S (S (S (S (S (S (S (S (S (S (S (S (S (S (S (S (S (S
-      (S (S (S (S (S (S (S (S (S (S (S (S (S (S (S (S (S (S (S (S (S
-      O))))))))))))))))))))))))))))))))))))))))))) (S (S (S (S (S (S (S (S (S
-      (S (S (S (S (S (S (S (S (S (S (S (S (S (S (S (S (S (S (S (S (S (S (S (S
-      (S (S (S (S (S (S (S (S (S (S (S (S (S (S (S (S (S (S (S (S (S (S
-      O))))))))))))))))))))))))))))))))))))))))))))))))))))))) (String
-      ((Ascii (false, false, true, false, true, false, true, false)), (String
-      ((Ascii (true, true, true, true, false, true, true, false)), (String
-      ((Ascii (false, false, true, false, true, true, true, false)), (String
-      ((Ascii (true, false, false, false, false, true, true, false)), (String
-      ((Ascii (false, false, true, true, false, true, true, false)), (String
-      ((Ascii (true, true, false, false, false, false, true, false)), (String
-      ((Ascii (false, true, false, false, true, true, true, false)), (String
-      ((Ascii (true, false, true, false, false, true, true, false)), (String
-      ((Ascii (false, false, true, false, false, true, true, false)), (String
-      ((Ascii (true, false, false, true, false, true, true, false)), (String
-      ((Ascii (false, false, true, false, true, true, true, false)), (String
-      ((Ascii (true, false, true, false, false, false, true, false)), (String
-      ((Ascii (false, true, true, true, false, true, true, false)), (String
-      ((Ascii (false, false, true, false, true, true, true, false)), (String
-      ((Ascii (false, true, false, false, true, true, true, false)), (String
-      ((Ascii (true, false, false, true, true, true, true, false)), (String
-      ((Ascii (false, false, true, false, false, false, true, false)),
-      (String ((Ascii (true, true, true, true, false, true, true, false)),
-      (String ((Ascii (false, false, true, true, false, true, true, false)),
-      (String ((Ascii (false, false, true, true, false, true, true, false)),
-      (String ((Ascii (true, false, false, false, false, true, true, false)),
-      (String ((Ascii (false, true, false, false, true, true, true, false)),
-      (String ((Ascii (true, false, false, false, false, false, true,
-      false)), (String ((Ascii (true, false, true, true, false, true, true,
-      false)), (String ((Ascii (true, true, true, true, false, true, true,
-      false)), (String ((Ascii (true, false, true, false, true, true, true,
-      false)), (String ((Ascii (false, true, true, true, false, true, true,
-      false)), (String ((Ascii (false, false, true, false, true, true, true,
-      false)), (String ((Ascii (true, false, false, true, false, false, true,
-      false)), (String ((Ascii (false, true, true, true, false, true, true,
-      false)), (String ((Ascii (false, true, true, false, false, false, true,
-      false)), (String ((Ascii (true, false, false, true, false, true, true,
-      false)), (String ((Ascii (false, false, true, true, false, true, true,
-      false)), (String ((Ascii (true, false, true, false, false, true, true,
-      false)),
-      EmptyString))))))))))))))))))))))))))))))))))))))))))))))))))))))))))))))))))))
-      ((String ((Ascii (false, false, false, false, true, true, true,
-      false)), (String ((Ascii (true, false, false, false, false, true, true,
-      false)), (String ((Ascii (false, true, false, false, true, true, true,
-      false)), (String ((Ascii (true, true, false, false, true, true, true,
-      false)), (String ((Ascii (true, false, true, false, false, true, true,
-      false)), (String ((Ascii (false, true, true, true, false, false, true,
-      false)), (String ((Ascii (true, false, true, false, true, true, true,
-      false)), (String ((Ascii (true, false, true, true, false, true, true,
-      false)), (String ((Ascii (false, true, true, false, false, false, true,
-      false)), (String ((Ascii (true, false, false, true, false, true, true,
-      false)), (String ((Ascii (true, false, true, false, false, true, true,
-      false)), (String ((Ascii (false, false, true, true, false, true, true,
-      false)), (String ((Ascii (false, false, true, false, false, true, true,
-      false)), EmptyString)))))))))))))))))))))))))) :: [])) :: ((mkcut (S (S
-                                                                   (S (S (S
-                                                                   (S (S (S
-                                                                   (S (S (S
-                                                                   (S (S (S
-                                                                   (S (S (S
-                                                                   (S (S (S
-                                                                   (S (S (S
-                                                                   (S (S (S
-                                                                   (S (S (S
-                                                                   (S (S (S
-                                                                   (S (S (S
-                                                                   (S (S (S
-                                                                   (S (S (S
-                                                                   (S (S (S
-                                                                   (S (S (S
-                                                                   (S (S (S
-                                                                   (S (S (S
-                                                                   (S (S
-                                                                   O)))))))))))))))))))))))))))))))))))))))))))))))))))))))
-                                                                   (S (S (S
-                                                                   (S (S (S
-                                                                   (S (S (S
-                                                                   (S (S (S
-                                                                   (S (S (S
-                                                                   (S (S (S
-                                                                   (S (S (S
-                                                                   (S (S (S
-                                                                   (S (S (S
-                                                                   (S (S (S
-                                                                   (S (S (S
-                                                                   (S (S (S
-                                                                   (S (S (S
-                                                                   (S (S (S
-                                                                   (S (S (S
-                                                                   (S (S (S
-                                                                   (S (S (S
-                                                                   (S (S (S
-                                                                   (S (S (S
-                                                                   (S (S (S
-                                                                   (S (S (S
-                                                                   (S (S (S
-                                                                   (S (S (S
-                                                                   (S (S (S
-                                                                   (S (S (S
-                                                                   (S (S (S
-                                                                   (S (S (S
-                                                                   (S (S (S
-                                                                   (S (S (S
-                                                                   (S (S (S
-                                                                   (S (S (S
-                                                                   (S
-                                                                   O))))))))))))))))))))))))))))))))))))))))))))))))))))))))))))))))))))))))))))))))))))))))))))))
-                                                                   EmptyString
-                                                                   []) :: [])))))))) }
-
-(** val l_FileHeader : layout **)
-
-let l_FileHeader =
-  { l_name = (String ((Ascii (false, true, true, false, false, false, true,
-    false)), (String ((Ascii (true, false, false, true, false, true, true,
-    false)), (String ((Ascii (false, false, true, true, false, true, true,
-    false)), (String ((Ascii (true, false, true, false, false, true, true,
-    false)), (String ((Ascii (false, false, false, true, false, false, true,
-    false)), (String ((Ascii (true, false, true, false, false, true, true,
-    false)), (String ((Ascii (true, false, false, false, false, true, true,
-    false)), (String ((Ascii (false, false, true, false, false, true, true,
-    false)), (String ((Ascii (true, false, true, false, false, true, true,
-    false)), (String ((Ascii (false, true, false, false, true, true, true,
-    false)), EmptyString)))))))))))))))))))); l_ix = IRune; l_segs = ((SLit
-    ((Npos (XI (XO (XO (XO (XI XH)))))) :: [])) :: ((SRaw (String ((Ascii
-    (false, false, false, false, true, true, true, false)), (String ((Ascii
-    (false, true, false, false, true, true, true, false)), (String ((Ascii
-    (true, false, false, true, false, true, true, false)), (String ((Ascii
-    (true, true, true, true, false, true, true, false)), (String ((Ascii
-    (false, true, false, false, true, true, true, false)), (String ((Ascii
-    (true, false, false, true, false, true, true, false)), (String ((Ascii
-    (false, false, true, false, true, true, true, false)), (String ((Ascii
-    (true, false, false, true, true, true, true, false)), (String ((Ascii
-    (true, true, false, false, false, false, true, false)), (String ((Ascii
-    (true, true, true, true, false, true, true, false)), (String ((Ascii
-    (false, false, true, false, false, true, true, false)), (String ((Ascii
-    (true, false, true, false, false, true, true, false)),
-    EmptyString))))))))))))))))))))))))) :: ((SCustom ((String ((Ascii
-    (false, true, true, false, false, false, true, false)), (String ((Ascii
-    (true, false, false, true, false, true, true, false)), (String ((Ascii
-    (false, false, true, true, false, true, true, false)), (String ((Ascii
-    (true, false, true, false, false, true, true, false)), (String ((Ascii
-    (false, false, false, true, false, false, true, false)), (String ((Ascii
-    (true, false, true, false, false, true, true, false)), (String ((Ascii
-    (true, false, false, false, false, true, true, false)), (String ((Ascii
-    (false, false, true, false, false, true, true, false)), (String ((Ascii
-    (true, false, true, false, false, true, true, false)), (String ((Ascii
-    (false, true, false, false, true, true, true, false)), (String ((Ascii
-    (false, true, true, true, false, true, false, false)), (String ((Ascii
-    (true, false, false, true, false, false, true, false)), (String ((Ascii
-    (true, false, true, true, false, true, true, false)), (String ((Ascii
-    (true, false, true, true, false, true, true, false)), (String ((Ascii
-    (true, false, true, false, false, true, true, false)), (String ((Ascii
-    (false, false, true, false, false, true, true, false)), (String ((Ascii
-    (true, false, false, true, false, true, true, false)), (String ((Ascii
-    (true, false, false, false, false, true, true, false)), (String ((Ascii
-    (false, false, true, false, true, true, true, false)), (String ((Ascii
-    (true, false, true, false, false, true, true, false)), (String ((Ascii
-    (false, false, true, false, false, false, true, false)), (String ((Ascii
-    (true, false, true, false, false, true, true, false)), (String ((Ascii
-    (true, true, false, false, true, true, true, false)), (String ((Ascii
-    (false, false, true, false, true, true, true, false)), (String ((Ascii
-    (true, false, false, true, false, true, true, false)), (String ((Ascii
-    (false, true, true, true, false, true, true, false)), (String ((Ascii
-    (true, false, false, false, false, true, true, false)), (String ((Ascii
-    (false, false, true, false, true, true, true, false)), (String ((Ascii
-    (true, false, false, true, false, true, true, false)), (String ((Ascii
-    (true, true, true, true, false, true, true, false)), (String ((Ascii
-    (false, true, true, true, false, true, true, false)), (String ((Ascii
-    (false, true, true, false, false, false, true, false)), (String ((Ascii
-    (true, false, false, true, false, true, true, false)), (String ((Ascii
-    (true, false, true, false, false, true, true, false)), (String ((Ascii
-    (false, false, true, true, false, true, true, false)), (String ((Ascii
-    (false, false, true, false, false, true, true, false)),
-    EmptyString)))))))))))))))))))))))))))))))))))))))))))))))))))))))))))))))))))))))),
-    (String ((Ascii (true, true, true, false, true, true, false, false)),
-    (String ((Ascii (false, false, false, false, true, true, false, false)),
-    (String ((Ascii (true, true, false, false, false, true, true, false)),
-    (String ((Ascii (true, false, true, false, false, true, true, false)),
-    (String ((Ascii (true, false, true, false, false, true, true, false)),
-    (String ((Ascii (true, false, false, false, false, true, true, false)),
-    (String ((Ascii (false, true, false, false, false, true, true, false)),
-    (String ((Ascii (false, true, true, false, true, true, false, false)),
-    (String ((Ascii (false, true, true, false, false, true, true, false)),
-    (String ((Ascii (true, false, true, false, true, true, false, false)),
-    (String ((Ascii (false, true, true, false, false, true, true, false)),
-    (String ((Ascii (true, true, false, false, true, true, false, false)),
-    EmptyString)))))))))))))))))))))))))) :: ((SCustom ((String ((Ascii
-    (false, true, true, false, false, false, true, false)), (String ((Ascii
-    (true, false, false, true, false, true, true, false)), (String ((Ascii
-    (false, false, true, true, false, true, true, false)), (String ((Ascii
-    (true, false, true, false, false, true, true, false)), (String ((Ascii
-    (false, false, false, true, false, false, true, false)), (String ((Ascii
-    (true, false, true, false, false, true, true, false)), (String ((Ascii
-    (true, false, false, false, false, true, true, false)), (String ((Ascii
-    (false, false, true, false, false, true, true, false)), (String ((Ascii
-    (true, false, true, false, false, true, true, false)), (String ((Ascii
-    (false, true, false, false, true, true, true, false)), (String ((Ascii
-    (false, true, true, true, false, true, false, false)), (String ((Ascii
-    (true, false, false, true, false, false, true, false)), (String ((Ascii
-    (true, false, true, true, false, true, true, false)), (String ((Ascii
-    (true, false, true, true, false, true, true, false)), (String ((Ascii
-    (true, false, true, false, false, true, true, false)), (String ((Ascii
-    (false, false, true, false, false, true, true, false)), (String ((Ascii
-    (true, false, false, true, false, true, true, false)), (String ((Ascii
-    (true, false, false, false, false, true, true, false)), (String ((Ascii
-    (false, false, true, false, true, true, true, false)), (String ((Ascii
-    (true, false, true, false, false, true, true, false)), (String ((Ascii
-    (true, true, true, true, false, false, true, false)), (String ((Ascii
-    (false, true, false, false, true, true, true, false)), (String ((Ascii
-    (true, false, false, true, false, true, true, false)), (String ((Ascii
-    (true, true, true, false, false, true, true, false)), (String ((Ascii
-    (true, false, false, true, false, true, true, false)), (String ((Ascii
-    (false, true, true, true, false, true, true, false)), (String ((Ascii
-    (false, true, true, false, false, false, true, false)), (String ((Ascii
-    (true, false, false, true, false, true, true, false)), (String ((Ascii
-    (true, false, true, false, false, true, true, false)), (String ((Ascii
-    (false, false, true, true, false, true, true, false)), (String ((Ascii
-    (false, false, true, false, false, true, true, false)),
-    EmptyString)))))))))))))))))))))))))))))))))))))))))))))))))))))))))))))),
-    (String ((Ascii (true, false, false, false, true, true, false, false)),
-    (String ((Ascii (false, true, true, false, false, true, true, false)),
-    (String ((Ascii (false, false, false, false, true, true, false, false)),
-    (String ((Ascii (false, false, false, true, true, true, false, false)),
-    (String ((Ascii (false, false, false, false, true, true, false, false)),
-    (String ((Ascii (false, false, true, false, true, true, false, false)),
-    (String ((Ascii (false, true, false, false, false, true, true, false)),
-    (String ((Ascii (true, true, false, false, false, true, true, false)),
-    (String ((Ascii (false, true, false, false, false, true, true, false)),
-    (String ((Ascii (false, false, true, false, false, true, true, false)),
-    (String ((Ascii (true, false, false, false, false, true, true, false)),
-    (String ((Ascii (true, true, true, false, true, true, false, false)),
-    EmptyString)))))))))))))))))))))))))) :: ((SCustom ((String ((Ascii
-    (false, true, true, false, false, false, true, false)), (String ((Ascii
-    (true, false, false, true, false, true, true, false)), (String ((Ascii
-    (false, false, true, true, false, true, true, false)), (String ((Ascii
-    (true, false, true, false, false, true, true, false)), (String ((Ascii
-    (false, false, false, true, false, false, true, false)), (String ((Ascii
-    (true, false, true, false, false, true, true, false)), (String ((Ascii
-    (true, false, false, false, false, true, true, false)), (String ((Ascii
-    (false, false, true, false, false, true, true, false)), (String ((Ascii
-    (true, false, true, false, false, true, true, false)), (String ((Ascii
-    (false, true, false, false, true, true, true, false)), (String ((Ascii
-    (false, true, true, true, false, true, false, false)), (String ((Ascii
-    (false, true, true, false, false, false, true, false)), (String ((Ascii
-    (true, false, false, true, false, true, true, false)), (String ((Ascii
-    (false, false, true, true, false, true, true, false)), (String ((Ascii
-    (true, false, true, false, false, true, true, false)), (String ((Ascii
-    (true, true, false, false, false, false, true, false)), (String ((Ascii
-    (false, true, false, false, true, true, true, false)), (String ((Ascii
-    (true, false, true, false, false, true, true, false)), (String ((Ascii
-    (true, false, false, false, false, true, true, false)), (String ((Ascii
-    (false, false, true, false, true, true, true, false)), (String ((Ascii
-    (true, false, false, true, false, true, true, false)), (String ((Ascii
-    (true, true, true, true, false, true, true, false)), (String ((Ascii
-    (false, true, true, true, false, true, true, false)), (String ((Ascii
-    (false, false, true, false, false, false, true, false)), (String ((Ascii
-    (true, false, false, false, false, true, true, false)), (String ((Ascii
-    (false, false, true, false, true, true, true, false)), (String ((Ascii
-    (true, false, true, false, false, true, true, false)), (String ((Ascii
-    (false, true, true, false, false, false, true, false)), (String ((Ascii
-    (true, false, false, true, false, true, true, false)), (String ((Ascii
-    (true, false, true, false, false, true, true, false)), (String ((Ascii
-    (false, false, true, true, false, true, true, false)), (String ((Ascii
-    (false, false, true, false, false, true, true, false)),
-    EmptyString)))))))))))))))))))))))))))))))))))))))))))))))))))))))))))))))),
-    (String ((Ascii (true, false, false, false, true, true, false, false)),
-    (String ((Ascii (true, false, true, false, true, true, false, false)),
-    (String ((Ascii (true, true, false, false, false, true, true, false)),
-    (String ((Ascii (false, false, true, false, true, true, false, false)),
-    (String ((Ascii (true, true, true, false, true, true, false, false)),
-    (String ((Ascii (true, false, true, false, true, true, false, false)),
-    (String ((Ascii (true, true, false, false, false, true, true, false)),
-    (String ((Ascii (false, false, true, false, false, true, true, false)),
-    (String ((Ascii (true, false, false, false, false, true, true, false)),
-    (String ((Ascii (true, true, false, false, false, true, true, false)),
-    (String ((Ascii (false, true, false, false, false, true, true, false)),
-    (String ((Ascii (false, false, false, false, true, true, false, false)),
-    EmptyString)))))))))))))))))))))))))) :: ((SCustom ((String ((Ascii
-    (false, true, true, false, false, false, true, false)), (String ((Ascii
-    (true, false, false, true, false, true, true, false)), (String ((Ascii
-    (false, false, true, true, false, true, true, false)), (String ((Ascii
-    (true, false, true, false, false, true, true, false)), (String ((Ascii
-    (false, false, false, true, false, false, true, false)), (String ((Ascii
-    (true, false, true, false, false, true, true, false)), (String ((Ascii
-    (true, false, false, false, false, true, true, false)), (String ((Ascii
-    (false, false, true, false, false, true, true, false)), (String ((Ascii
-    (true, false, true, false, false, true, true, false)), (String ((Ascii
-    (false, true, false, false, true, true, true, false)), (String ((Ascii
-    (false, true, true, true, false, true, false, false)), (String ((Ascii
-    (false, true, true, false, false, false, true, false)), (String ((Ascii
-    (true, false, false, true, false, true, true, false)), (String ((Ascii
-    (false, false, true, true, false, true, true, false)), (String ((Ascii
-    (true, false, true, false, false, true, true, false)), (String ((Ascii
-    (true, true, false, false, false, false, true, false)), (String ((Ascii
-    (false, true, false, false, true, true, true, false)), (String ((Ascii
-    (true, false, true, false, false, true, true, false)), (String ((Ascii
-    (true, false, false, false, false, true, true, false)), (String ((Ascii
-    (false, false, true, false, true, true, true, false)), (String ((Ascii
-    (true, false, false, true, false, true, true, false)), (String ((Ascii
-    (true, true, true, true, false, true, true, false)), (String ((Ascii
-    (false, true, true, true, false, true, true, false)), (String ((Ascii
-    (false, false, true, false, true, false, true, false)), (String ((Ascii
-    (true, false, false, true, false, true, true, false)), (String ((Ascii
-    (true, false, true, true, false, true, true, false)), (String ((Ascii
-    (true, false, true, false, false, true, true, false)), (String ((Ascii
-    (false, true, true, false, false, false, true, false)), (String ((Ascii
-    (true, false, false, true, false, true, true, false)), (String ((Ascii
-    (true, false, true, false, false, true, true, false)), (String ((Ascii
-    (false, false, true, true, false, true, true, false)), (String ((Ascii
-    (false, false, true, false, false, true, true, false)),
-    EmptyString)))))))))))))))))))))))))))))))))))))))))))))))))))))))))))))))),
-    (String ((Ascii (true, false, false, true, true, true, false, false)),
-    (String ((Ascii (false, true, true, false, true, true, false, false)),
-    (String ((Ascii (false, true, true, false, false, true, true, false)),
-    (String ((Ascii (true, true, false, false, false, true, true, false)),
-    (String ((Ascii (true, true, true, false, true, true, false, false)),
-    (String ((Ascii (true, true, false, false, true, true, false, false)),
-    (String ((Ascii (true, false, true, false, false, true, true, false)),
-    (String ((Ascii (false, true, false, false, true, true, false, false)),
-    (String ((Ascii (false, false, true, false, true, true, false, false)),
-    (String ((Ascii (true, false, false, true, true, true, false, false)),
-    (String ((Ascii (true, false, false, false, false, true, true, false)),
-    (String ((Ascii (false, false, true, false, true, true, false, false)),
-    EmptyString)))))))))))))))))))))))))) :: ((SRaw (String ((Ascii (false,
-    true, true, false, false, false, true, false)), (String ((Ascii (true,
-    false, false, true, false, true, true, false)), (String ((Ascii (false,
-    false, true, true, false, true, true, false)), (String ((Ascii (true,
-    false, true, false, false, true, true, false)), (String ((Ascii (true,
-    false, false, true, false, false, true, false)), (String ((Ascii (false,
-    false, true, false, false, false, true, false)), (String ((Ascii (true,
-    false, true, true, false, false, true, false)), (String ((Ascii (true,
-    true, true, true, false, true, true, false)), (String ((Ascii (false,
-    false, true, false, false, true, true, false)), (String ((Ascii (true,
-    false, false, true, false, true, true, false)), (String ((Ascii (false,
-    true, true, false, false, true, true, false)), (String ((Ascii (true,
-    false, false, true, false, true, true, false)), (String ((Ascii (true,
-    false, true, false, false, true, true, false)), (String ((Ascii (false,
-    true, false, false, true, true, true, false)),
-    EmptyString))))))))))))))))))))))))))))) :: ((SRaw (String ((Ascii
-    (false, true, false, false, true, true, true, false)), (String ((Ascii
-    (true, false, true, false, false, true, true, false)), (String ((Ascii
-    (true, true, false, false, false, true, true, false)), (String ((Ascii
-    (true, true, true, true, false, true, true, false)), (String ((Ascii
-    (false, true, false, false, true, true, true, false)), (String ((Ascii
-    (false, false, true, false, false, true, true, false)), (String ((Ascii
-    (true, true, false, false, true, false, true, false)), (String ((Ascii
-    (true, false, false, true, false, true, true, false)), (String ((Ascii
-    (false, true, false, true, true, true, true, false)), (String ((Ascii
-    (true, false, true, false, false, true, true, false)),
-    EmptyString))))))))))))))))))))) :: ((SRaw (String ((Ascii (false, true,
-    false, false, false, true, true, false)), (String ((Ascii (false, false,
-    true, true, false, true, true, false)), (String ((Ascii (true, true,
-    true, true, false, true, true, false)), (String ((Ascii (true, true,
-    false, false, false, true, true, false)), (String ((Ascii (true, true,
-    false, true, false, true, true, false)), (String ((Ascii (true, false,
-    false, true, false, true, true, false)), (String ((Ascii (false, true,
-    true, true, false, true, true, false)), (String ((Ascii (true, true,
-    true, false, false, true, true, false)), (String ((Ascii (false, true,
-    true, false, false, false, true, false)), (String ((Ascii (true, false,
-    false, false, false, true, true, false)), (String ((Ascii (true, true,
-    false, false, false, true, true, false)), (String ((Ascii (false, false,
-    true, false, true, true, true, false)), (String ((Ascii (true, true,
-    true, true, false, true, true, false)), (String ((Ascii (false, true,
-    false, false, true, true, true, false)),
-    EmptyString))))))))))))))))))))))))))))) :: ((SRaw (String ((Ascii
-    (false, true, true, false, false, true, true, false)), (String ((Ascii
-    (true, true, true, true, false, true, true, false)), (String ((Ascii
-    (false, true, false, false, true, true, true, false)), (String ((Ascii
-    (true, false, true, true, false, true, true, false)), (String ((Ascii
-    (true, false, false, false, false, true, true, false)), (String ((Ascii
-    (false, false, true, false, true, true, true, false)), (String ((Ascii
-    (true, true, false, false, false, false, true, false)), (String ((Ascii
-    (true, true, true, true, false, true, true, false)), (String ((Ascii
-    (false, false, true, false, false, true, true, false)), (String ((Ascii
-    (true, false, true, false, false, true, true, false)),
-    EmptyString))))))))))))))))))))) :: ((SAlpha ((String ((Ascii (true,
-    false, false, true, false, false, true, false)), (String ((Ascii (true,
-    false, true, true, false, true, true, false)), (String ((Ascii (true,
-    false, true, true, false, true, true, false)), (String ((Ascii (true,
-    false, true, false, false, true, true, false)), (String ((Ascii (false,
-    false, true, false, false, true, true, false)), (String ((Ascii (true,
-    false, false, true, false, true, true, false)), (String ((Ascii (true,
-    false, false, false, false, true, true, false)), (String ((Ascii (false,
-    false, true, false, true, true, true, false)), (String ((Ascii (true,
-    false, true, false, false, true, true, false)), (String ((Ascii (false,
-    false, true, false, false, false, true, false)), (String ((Ascii (true,
-    false, true, false, false, true, true, false)), (String ((Ascii (true,
-    true, false, false, true, true, true, false)), (String ((Ascii (false,
-    false, true, false, true, true, true, false)), (String ((Ascii (true,
-    false, false, true, false, true, true, false)), (String ((Ascii (false,
-    true, true, true, false, true, true, false)), (String ((Ascii (true,
-    false, false, false, false, true, true, false)), (String ((Ascii (false,
-    false, true, false, true, true, true, false)), (String ((Ascii (true,
-    false, false, true, false, true, true, false)), (String ((Ascii (true,
-    true, true, true, false, true, true, false)), (String ((Ascii (false,
-    true, true, true, false, true, true, false)), (String ((Ascii (false,
-    true, true, true, false, false, true, false)), (String ((Ascii (true,
-    false, false, false, false, true, true, false)), (String ((Ascii (true,
-    false, true, true, false, true, true, false)), (String ((Ascii (true,
-    false, true, false, false, true, true, false)),
-    EmptyString)))))))))))))))))))))))))))))))))))))))))))))))), (S (S (S (S
-    (S (S (S (S (S (S (S (S (S (S (S (S (S (S (S (S (S (S (S
-    O))))))))))))))))))))))))) :: ((SAlpha ((String ((Ascii (true, false,
-    false, true, false, false, true, false)), (String ((Ascii (true, false,
-    true, true, false, true, true, false)), (String ((Ascii (true, false,
-    true, true, false, true, true, false)), (String ((Ascii (true, false,
-    true, false, false, true, true, false)), (String ((Ascii (false, false,
-    true, false, false, true, true, false)), (String ((Ascii (true, false,
-    false, true, false, true, true, false)), (String ((Ascii (true, false,
-    false, false, false, true, true, false)), (String ((Ascii (false, false,
-    true, false, true, true, true, false)), (String ((Ascii (true, false,
-    true, false, false, true, true, false)), (String ((Ascii (true, true,
-    true, true, false, false, true, false)), (String ((Ascii (false, true,
-    false, false, true, true, true, false)), (String ((Ascii (true, false,
-    false, true, false, true, true, false)), (String ((Ascii (true, true,
-    true, false, false, true, true, false)), (String ((Ascii (true, false,
-    false, true, false, true, true, false)), (String ((Ascii (false, true,
-    true, true, false, true, true, false)), (String ((Ascii (false, true,
-    true, true, false, false, true, false)), (String ((Ascii (true, false,
-    false, false, false, true, true, false)), (String ((Ascii (true, false,
-    true, true, false, true, true, false)), (String ((Ascii (true, false,
-    true, false, false, true, true, false)),
-    EmptyString)))))))))))))))))))))))))))))))))))))), (S (S (S (S (S (S (S
-    (S (S (S (S (S (S (S (S (S (S (S (S (S (S (S (S
-    O))))))))))))))))))))))))) :: ((SAlpha ((String ((Ascii (false, true,
-    false, false, true, false, true, false)), (String ((Ascii (true, false,
-    true, false, false, true, true, false)), (String ((Ascii (false, true,
-    true, false, false, true, true, false)), (String ((Ascii (true, false,
-    true, false, false, true, true, false)), (String ((Ascii (false, true,
-    false, false, true, true, true, false)), (String ((Ascii (true, false,
-    true, false, false, true, true, false)), (String ((Ascii (false, true,
-    true, true, false, true, true, false)), (String ((Ascii (true, true,
-    false, false, false, true, true, false)), (String ((Ascii (true, false,
-    true, false, false, true, true, false)), (String ((Ascii (true, true,
-    false, false, false, false, true, false)), (String ((Ascii (true, true,
-    true, true, false, true, true, false)), (String ((Ascii (false, false,
-    true, false, false, true, true, false)), (String ((Ascii (true, false,
-    true, false, false, true, true, false)),
-    EmptyString)))))))))))))))))))))))))), (S (S (S (S (S (S (S (S
-    O)))))))))) :: []))))))))))))); l_cuts =
-    ((mkconst (String ((Ascii (false, false, false, false, true, true, true,
-       false)), (String ((Ascii (false, true, false, false, true, true, true,
-       false)), (String ((Ascii (true, false, false, true, false, true, true,
-       false)), (String ((Ascii (true, true, true, true, false, true, true,
-       false)), (String ((Ascii (false, true, false, false, true, true, true,
-       false)), (String ((Ascii (true, false, false, true, false, true, true,
-       false)), (String ((Ascii (false, false, true, false, true, true, true,
-       false)), (String ((Ascii (true, false, false, true, true, true, true,
-       false)), (String ((Ascii (true, true, false, false, false, false,
-       true, false)), (String ((Ascii (true, true, true, true, false, true,
-       true, false)), (String ((Ascii (false, false, true, false, false,
-       true, true, false)), (String ((Ascii (true, false, true, false, false,
-       true, true, false)), EmptyString)))))))))))))))))))))))) ((Npos (XO
-       (XO (XO (XO (XI XH)))))) :: ((Npos (XI (XO (XO (XO (XI
-       XH)))))) :: []))) :: ((mkcut (S (S (S O))) (S (S (S (S (S (S (S (S (S
-                               (S (S (S (S O))))))))))))) (String ((Ascii
-                               (true, false, false, true, false, false, true,
-                               false)), (String ((Ascii (true, false, true,
-                               true, false, true, true, false)), (String
-                               ((Ascii (true, false, true, true, false, true,
-                               true, false)), (String ((Ascii (true, false,
-                               true, false, false, true, true, false)),
-                               (String ((Ascii (false, false, true, false,
-                               false, true, true, false)), (String ((Ascii
-                               (true, false, false, true, false, true, true,
-                               false)), (String ((Ascii (true, false, false,
-                               false, false, true, true, false)), (String
-                               ((Ascii (false, false, true, false, true,
-                               true, true, false)), (String ((Ascii (true,
-                               false, true, false, false, true, true,
-                               false)), (String ((Ascii (false, false, true,
-                               false, false, false, true, false)), (String
-                               ((Ascii (true, false, true, false, false,
-                               true, true, false)), (String ((Ascii (true,
-                               true, false, false, true, true, true, false)),
-                               (String ((Ascii (false, false, true, false,
-                               true, true, true, false)), (String ((Ascii
-                               (true, false, false, true, false, true, true,
-                               false)), (String ((Ascii (false, true, true,
-                               true, false, true, true, false)), (String
-                               ((Ascii (true, false, false, false, false,
-                               true, true, false)), (String ((Ascii (false,
-                               false, true, false, true, true, true, false)),
-                               (String ((Ascii (true, false, false, true,
-                               false, true, true, false)), (String ((Ascii
-                               (true, true, true, true, false, true, true,
-                               false)), (String ((Ascii (false, true, true,
-                               true, false, true, true, false)),
-                               EmptyString))))))))))))))))))))))))))))))))))))))))
-                               ((String ((Ascii (false, false, true, false,
-                               true, true, true, false)), (String ((Ascii
-                               (false, true, false, false, true, true, true,
-                               false)), (String ((Ascii (true, false, false,
-                               true, false, true, true, false)), (String
-                               ((Ascii (true, false, true, true, false, true,
-                               true, false)), (String ((Ascii (false, true,
-                               false, false, true, false, true, false)),
-                               (String ((Ascii (true, true, true, true,
-                               false, true, true, false)), (String ((Ascii
-                               (true, false, true, false, true, true, true,
-                               false)), (String ((Ascii (false, false, true,
-                               false, true, true, true, false)), (String
-                               ((Ascii (true, false, false, true, false,
-                               true, true, false)), (String ((Ascii (false,
-                               true, true, true, false, true, true, false)),
-                               (String ((Ascii (true, true, true, false,
-                               false, true, true, false)), (String ((Ascii
-                               (false, true, true, true, false, false, true,
-                               false)), (String ((Ascii (true, false, true,
-                               false, true, true, true, false)), (String
-                               ((Ascii (true, false, true, true, false, true,
-                               true, false)), (String ((Ascii (false, true,
-                               false, false, false, true, true, false)),
-                               (String ((Ascii (true, false, true, false,
-                               false, true, true, false)), (String ((Ascii
-                               (false, true, false, false, true, true, true,
-                               false)), (String ((Ascii (false, false, true,
-                               true, false, false, true, false)), (String
-                               ((Ascii (true, false, true, false, false,
-                               true, true, false)), (String ((Ascii (true,
-                               false, false, false, false, true, true,
-                               false)), (String ((Ascii (false, false, true,
-                               false, false, true, true, false)), (String
-                               ((Ascii (true, false, false, true, false,
-                               true, true, false)), (String ((Ascii (false,
-                               true, true, true, false, true, true, false)),
-                               (String ((Ascii (true, true, true, false,
-                               false, true, true, false)), (String ((Ascii
-                               (false, true, false, true, true, false, true,
-                               false)), (String ((Ascii (true, false, true,
-                               false, false, true, true, false)), (String
-                               ((Ascii (false, true, false, false, true,
-                               true, true, false)), (String ((Ascii (true,
-                               true, true, true, false, true, true, false)),
-                               EmptyString)))))))))))))))))))))))))))))))))))))))))))))))))))))))) :: ((String
-                               ((Ascii (false, false, false, false, true,
-                               true, true, false)), (String ((Ascii (true,
-                               false, false, false, false, true, true,
-                               false)), (String ((Ascii (false, true, false,
-                               false, true, true, true, false)), (String
-                               ((Ascii (true, true, false, false, true, true,
-                               true, false)), (String ((Ascii (true, false,
-                               true, false, false, true, true, false)),
-                               (String ((Ascii (true, true, false, false,
-                               true, false, true, false)), (String ((Ascii
-                               (false, false, true, false, true, true, true,
-                               false)), (String ((Ascii (false, true, false,
-                               false, true, true, true, false)), (String
-                               ((Ascii (true, false, false, true, false,
-                               true, true, false)), (String ((Ascii (false,
-                               true, true, true, false, true, true, false)),
-                               (String ((Ascii (true, true, true, false,
-                               false, true, true, false)), (String ((Ascii
-                               (false, true, true, false, false, false, true,
-                               false)), (String ((Ascii (true, false, false,
-                               true, false, true, true, false)), (String
-                               ((Ascii (true, false, true, false, false,
-                               true, true, false)), (String ((Ascii (false,
-                               false, true, true, false, true, true, false)),
-                               (String ((Ascii (false, false, true, false,
-                               false, true, true, false)),
-                               EmptyString)))))))))))))))))))))))))))))))) :: []))) :: (
-    (mkcut (S (S (S (S (S (S (S (S (S (S (S (S (S O))))))))))))) (S (S (S (S
-      (S (S (S (S (S (S (S (S (S (S (S (S (S (S (S (S (S (S (S
-      O))))))))))))))))))))))) (String ((Ascii (true, false, false, true,
-      false, false, true, false)), (String ((Ascii (true, false, true, true,
-      false, true, true, false)), (String ((Ascii (true, false, true, true,
-      false, true, true, false)), (String ((Ascii (true, false, true, false,
-      false, true, true, false)), (String ((Ascii (false, false, true, false,
-      false, true, true, false)), (String ((Ascii (true, false, false, true,
-      false, true, true, false)), (String ((Ascii (true, false, false, false,
-      false, true, true, false)), (String ((Ascii (false, false, true, false,
-      true, true, true, false)), (String ((Ascii (true, false, true, false,
-      false, true, true, false)), (String ((Ascii (true, true, true, true,
-      false, false, true, false)), (String ((Ascii (false, true, false,
-      false, true, true, true, false)), (String ((Ascii (true, false, false,
-      true, false, true, true, false)), (String ((Ascii (true, true, true,
-      false, false, true, true, false)), (String ((Ascii (true, false, false,
-      true, false, true, true, false)), (String ((Ascii (false, true, true,
-      true, false, true, true, false)),
-      EmptyString)))))))))))))))))))))))))))))) ((String ((Ascii (false,
-      false, true, false, true, true, true, false)), (String ((Ascii (false,
-      true, false, false, true, true, true, false)), (String ((Ascii (true,
-      false, false, true, false, true, true, false)), (String ((Ascii (true,
-      false, true, true, false, true, true, false)), (String ((Ascii (false,
-      true, false, false, true, false, true, false)), (String ((Ascii (true,
-      true, true, true, false, true, true, false)), (String ((Ascii (true,
-      false, true, false, true, true, true, false)), (String ((Ascii (false,
-      false, true, false, true, true, true, false)), (String ((Ascii (true,
-      false, false, true, false, true, true, false)), (String ((Ascii (false,
-      true, true, true, false, true, true, false)), (String ((Ascii (true,
-      true, true, false, false, true, true, false)), (String ((Ascii (false,
-      true, true, true, false, false, true, false)), (String ((Ascii (true,
-      false, true, false, true, true, true, false)), (String ((Ascii (true,
-      false, true, true, false, true, true, false)), (String ((Ascii (false,
-      true, false, false, false, true, true, false)), (String ((Ascii (true,
-      false, true, false, false, true, true, false)), (String ((Ascii (false,
-      true, false, false, true, true, true, false)), (String ((Ascii (false,
-      false, true, true, false, false, true, false)), (String ((Ascii (true,
-      false, true, false, false, true, true, false)), (String ((Ascii (true,
-      false, false, false, false, true, true, false)), (String ((Ascii
-      (false, false, true, false, false, true, true, false)), (String ((Ascii
-      (true, false, false, true, false, true, true, false)), (String ((Ascii
-      (false, true, true, true, false, true, true, false)), (String ((Ascii
-      (true, true, true, false, false, true, true, false)), (String ((Ascii
-      (false, true, false, true, true, false, true, false)), (String ((Ascii
-      (true, false, true, false, false, true, true, false)), (String ((Ascii
-      (false, true, false, false, true, true, true, false)), (String ((Ascii
-      (true, true, true, true, false, true, true, false)),
-      EmptyString)))))))))))))))))))))))))))))))))))))))))))))))))))))))) :: ((String
-      ((Ascii (false, false, false, false, true, true, true, false)), (String
-      ((Ascii (true, false, false, false, false, true, true, false)), (String
-      ((Ascii (false, true, false, false, true, true, true, false)), (String
-      ((Ascii (true, true, false, false, true, true, true, false)), (String
-      ((Ascii (true, false, true, false, false, true, true, false)), (String
-      ((Ascii (true, true, false, false, true, false, true, false)), (String
-      ((Ascii (false, false, true, false, true, true, true, false)), (String
-      ((Ascii (false, true, false, false, true, true, true, false)), (String
-      ((Ascii (true, false, false, true, false, true, true, false)), (String
-      ((Ascii (false, true, true, true, false, true, true, false)), (String
-      ((Ascii (true, true, true, false, false, true, true, false)), (String
-      ((Ascii (false, true, true, false, false, false, true, false)), (String
-      ((Ascii (true, false, false, true, false, true, true, false)), (String
-      ((Ascii (true, false, true, false, false, true, true, false)), (String
-      ((Ascii (false, false, true, true, false, true, true, false)), (String
-      ((Ascii (false, false, true, false, false, true, true, false)),
-      EmptyString)))))))))))))))))))))))))))))))) :: []))) :: ((mkcut (S (S
-                                                                 (S (S (S (S
-                                                                 (S (S (S (S
-                                                                 (S (S (S (S
-                                                                 (S (S (S (S
-                                                                 (S (S (S (S
-                                                                 (S
-                                                                 O)))))))))))))))))))))))
-                                                                 (S (S (S (S
-                                                                 (S (S (S (S
-                                                                 (S (S (S (S
-                                                                 (S (S (S (S
-                                                                 (S (S (S (S
-                                                                 (S (S (S (S
-                                                                 (S (S (S (S
-                                                                 (S
-                                                                 O)))))))))))))))))))))))))))))
-                                                                 (String
-                                                                 ((Ascii
-                                                                 (false,
-                                                                 true, true,
-                                                                 false,
-                                                                 false,
-                                                                 false, true,
-                                                                 false)),
-                                                                 (String
-                                                                 ((Ascii
-                                                                 (true,
-                                                                 false,
-                                                                 false, true,
-                                                                 false, true,
-                                                                 true,
-                                                                 false)),
-                                                                 (String
-                                                                 ((Ascii
-                                                                 (false,
-                                                                 false, true,
-                                                                 true, false,
-                                                                 true, true,
-                                                                 false)),
-                                                                 (String
-                                                                 ((Ascii
-                                                                 (true,
-                                                                 false, true,
-                                                                 false,
-                                                                 false, true,
-                                                                 true,
-                                                                 false)),
-                                                                 (String
-                                                                 ((Ascii
-                                                                 (true, true,
-                                                                 false,
-                                                                 false,
-                                                                 false,
-                                                                 false, true,
-                                                                 false)),
-                                                                 (String
-                                                                 ((Ascii
-                                                                 (false,
-                                                                 true, false,
-                                                                 false, true,
-                                                                 true, true,
-                                                                 false)),
-                                                                 (String
-                                                                 ((Ascii
-                                                                 (true,
-                                                                 false, true,
-                                                                 false,
-                                                                 false, true,
-                                                                 true,
-                                                                 false)),
-                                                                 (String
-                                                                 ((Ascii
-                                                                 (true,
-                                                                 false,
-                                                                 false,
-                                                                 false,
-                                                                 false, true,
-                                                                 true,
-                                                                 false)),
-                                                                 (String
-                                                                 ((Ascii
-                                                                 (false,
-                                                                 false, true,
-                                                                 false, true,
-                                                                 true, true,
-                                                                 false)),
-                                                                 (String
-                                                                 ((Ascii
-                                                                 (true,
-                                                                 false,
-                                                                 false, true,
-                                                                 false, true,
-                                                                 true,
-                                                                 false)),
-                                                                 (String
-                                                                 ((Ascii
-                                                                 (true, true,
-                                                                 true, true,
-                                                                 false, true,
-                                                                 true,
-                                                                 false)),
-                                                                 (String
-                                                                 ((Ascii
-                                                                 (false,
-                                                                 true, true,
-                                                                 true, false,
-                                                                 true, true,
-                                                                 false)),
-                                                                 (String
-                                                                 ((Ascii
-                                                                 (false,
-                                                                 false, true,
-                                                                 false,
-                                                                 false,
-                                                                 false, true,
-                                                                 false)),
-                                                                 (String
-                                                                 ((Ascii
-                                                                 (true,
-                                                                 false,
-                                                                 false,
-                                                                 false,
-                                                                 false, true,
-                                                                 true,
-                                                                 false)),
-                                                                 (String
-                                                                 ((Ascii
-                                                                 (false,
-                                                                 false, true,
-                                                                 false, true,
-                                                                 true, true,
-                                                                 false)),
-                                                                 (String
-                                                                 ((Ascii
-                                                                 (true,
-                                                                 false, true,
-                                                                 false,
-                                                                 false, true,
-                                                                 true,
-                                                                 false)),
-                                                                 EmptyString))))))))))))))))))))))))))))))))
-                                                                 ((String
-                                                                 ((Ascii
-                                                                 (false,
-                                                                 true, true,
-                                                                 false, true,
-                                                                 true, true,
-                                                                 false)),
-                                                                 (String
-                                                                 ((Ascii
-                                                                 (true,
-                                                                 false,
-                                                                 false,
-                                                                 false,
-                                                                 false, true,
-                                                                 true,
-                                                                 false)),
-                                                                 (String
-                                                                 ((Ascii
-                                                                 (false,
-                                                                 false, true,
-                                                                 true, false,
-                                                                 true, true,
-                                                                 false)),
-                                                                 (String
-                                                                 ((Ascii
-                                                                 (true,
-                                                                 false,
-                                                                 false, true,
-                                                                 false, true,
-                                                                 true,
-                                                                 false)),
-                                                                 (String
-                                                                 ((Ascii
-                                                                 (false,
-                                                                 false, true,
-                                                                 false,
-                                                                 false, true,
-                                                                 true,
-                                                                 false)),
-                                                                 (String
-                                                                 ((Ascii
-                                                                 (true,
-                                                                 false,
-                                                                 false,
-                                                                 false,
-                                                                 false, true,
-                                                                 true,
-                                                                 false)),
-                                                                 (String
-                                                                 ((Ascii
-                                                                 (false,
-                                                                 false, true,
-                                                                 false, true,
-                                                                 true, true,
-                                                                 false)),
-                                                                 (String
-                                                                 ((Ascii
-                                                                 (true,
-                                                                 false, true,
-                                                                 false,
-                                                                 false, true,
-                                                                 true,
-                                                                 false)),
-                                                                 (String
-                                                                 ((Ascii
-                                                                 (true, true,
-                                                                 false,
-                                                                 false, true,
-                                                                 false, true,
-                                                                 false)),
-                                                                 (String
-                                                                 ((Ascii
-                                                                 (true,
-                                                                 false,
-                                                                 false, true,
-                                                                 false, true,
-                                                                 true,
-                                                                 false)),
-                                                                 (String
-                                                                 ((Ascii
-                                                                 (true,
-                                                                 false, true,
-                                                                 true, false,
-                                                                 true, true,
-                                                                 false)),
-                                                                 (String
-                                                                 ((Ascii
-                                                                 (false,
-                                                                 false,
-                                                                 false,
-                                                                 false, true,
-                                                                 true, true,
-                                                                 false)),
-                                                                 (String
-                                                                 ((Ascii
-                                                                 (false,
-                                                                 false, true,
-                                                                 true, false,
-                                                                 true, true,
-                                                                 false)),
-                                                                 (String
-                                                                 ((Ascii
-                                                                 (true,
-                                                                 false, true,
-                                                                 false,
-                                                                 false, true,
-                                                                 true,
-                                                                 false)),
-                                                                 (String
-                                                                 ((Ascii
-                                                                 (false,
-                                                                 false, true,
-                                                                 false,
-                                                                 false,
-                                                                 false, true,
-                                                                 false)),
-                                                                 (String
-                                                                 ((Ascii
-                                                                 (true,
-                                                                 false,
-                                                                 false,
-                                                                 false,
-                                                                 false, true,
-                                                                 true,
-                                                                 false)),
-                                                                 (String
-                                                                 ((Ascii
-                                                                 (false,
-                                                                 false, true,
-                                                                 false, true,
-                                                                 true, true,
-                                                                 false)),
-                                                                 (String
-                                                                 ((Ascii
-                                                                 (true,
-                                                                 false, true,
-                                                                 false,
-                                                                 false, true,
-                                                                 true,
-                                                                 false)),
-                                                                 EmptyString)))))))))))))))))))))))))))))))))))) :: [])) :: (
-    (mkcut (S (S (S (S (S (S (S (S (S (S (S (S (S (S (S (S (S (S (S (S (S (S
-      (S (S (S (S (S (S (S O))))))))))))))))))))))))))))) (S (S (S (S (S (S
-      (S (S (S (S (S (S (S (S (S (S (S (S (S (S (S (S (S (S (S (S (S (S (S (S
-      (S (S (S O))))))))))))))))))))))))))))))))) (String ((Ascii (false,
-      true, true, false, false, false, true, false)), (String ((Ascii (true,
-      false, false, true, false, true, true, false)), (String ((Ascii (false,
-      false, true, true, false, true, true, false)), (String ((Ascii (true,
-      false, true, false, false, true, true, false)), (String ((Ascii (true,
-      true, false, false, false, false, true, false)), (String ((Ascii
-      (false, true, false, false, true, true, true, false)), (String ((Ascii
-      (true, false, true, false, false, true, true, false)), (String ((Ascii
-      (true, false, false, false, false, true, true, false)), (String ((Ascii
-      (false, false, true, false, true, true, true, false)), (String ((Ascii
-      (true, false, false, true, false, true, true, false)), (String ((Ascii
-      (true, true, true, true, false, true, true, false)), (String ((Ascii
-      (false, true, true, true, false, true, true, false)), (String ((Ascii
-      (false, false, true, false, true, false, true, false)), (String ((Ascii
-      (true, false, false, true, false, true, true, false)), (String ((Ascii
-      (true, false, true, true, false, true, true, false)), (String ((Ascii
-      (true, false, true, false, false, true, true, false)),
-      EmptyString)))))))))))))))))))))))))))))))) ((String ((Ascii (false,
-      true, true, false, true, true, true, false)), (String ((Ascii (true,
-      false, false, false, false, true, true, false)), (String ((Ascii
-      (false, false, true, true, false, true, true, false)), (String ((Ascii
-      (true, false, false, true, false, true, true, false)), (String ((Ascii
-      (false, false, true, false, false, true, true, false)), (String ((Ascii
-      (true, false, false, false, false, true, true, false)), (String ((Ascii
-      (false, false, true, false, true, true, true, false)), (String ((Ascii
-      (true, false, true, false, false, true, true, false)), (String ((Ascii
-      (true, true, false, false, true, false, true, false)), (String ((Ascii
-      (true, false, false, true, false, true, true, false)), (String ((Ascii
-      (true, false, true, true, false, true, true, false)), (String ((Ascii
-      (false, false, false, false, true, true, true, false)), (String ((Ascii
-      (false, false, true, true, false, true, true, false)), (String ((Ascii
-      (true, false, true, false, false, true, true, false)), (String ((Ascii
-      (false, false, true, false, true, false, true, false)), (String ((Ascii
-      (true, false, false, true, false, true, true, false)), (String ((Ascii
-      (true, false, true, true, false, true, true, false)), (String ((Ascii
-      (true, false, true, false, false, true, true, false)),
-      EmptyString)))))))))))))))))))))))))))))))))))) :: [])) :: ((mkcut (S
-                                                                    (S (S (S
-                                                                    (S (S (S
-                                                                    (S (S (S
-                                                                    (S (S (S
-                                                                    (S (S (S
-                                                                    (S (S (S
-                                                                    (S (S (S
-                                                                    (S (S (S
-                                                                    (S (S (S
-                                                                    (S (S (S
-                                                                    (S (S
-                                                                    O)))))))))))))))))))))))))))))))))
-                                                                    (S (S (S
-                                                                    (S (S (S
-                                                                    (S (S (S
-                                                                    (S (S (S
-                                                                    (S (S (S
-                                                                    (S (S (S
-                                                                    (S (S (S
-                                                                    (S (S (S
-                                                                    (S (S (S
-                                                                    (S (S (S
-                                                                    (S (S (S
-                                                                    (S
-                                                                    O))))))))))))))))))))))))))))))))))
-                                                                    (String
-                                                                    ((Ascii
-                                                                    (false,
-                                                                    true,
-                                                                    true,
-                                                                    false,
-                                                                    false,
-                                                                    false,
-                                                                    true,
-                                                                    false)),
-                                                                    (String
-                                                                    ((Ascii
-                                                                    (true,
-                                                                    false,
-                                                                    false,
-                                                                    true,
-                                                                    false,
-                                                                    true,
-                                                                    true,
-                                                                    false)),
-                                                                    (String
-                                                                    ((Ascii
-                                                                    (false,
-                                                                    false,
-                                                                    true,
-                                                                    true,
-                                                                    false,
-                                                                    true,
-                                                                    true,
-                                                                    false)),
-                                                                    (String
-                                                                    ((Ascii
-                                                                    (true,
-                                                                    false,
-                                                                    true,
-                                                                    false,
-                                                                    false,
-                                                                    true,
-                                                                    true,
-                                                                    false)),
-                                                                    (String
-                                                                    ((Ascii
-                                                                    (true,
-                                                                    false,
-                                                                    false,
-                                                                    true,
-                                                                    false,
-                                                                    false,
-                                                                    true,
-                                                                    false)),
-                                                                    (String
-                                                                    ((Ascii
-                                                                    (false,
-                                                                    false,
-                                                                    true,
-                                                                    false,
-                                                                    false,
-                                                                    false,
-                                                                    true,
-                                                                    false)),
-                                                                    (String
-                                                                    ((Ascii
-                                                                    (true,
-                                                                    false,
-                                                                    true,
-                                                                    true,
-                                                                    false,
-                                                                    false,
-                                                                    true,
-                                                                    false)),
-                                                                    (String
-                                                                    ((Ascii
-                                                                    (true,
-                                                                    true,
-                                                                    true,
-                                                                    true,
-                                                                    false,
-                                                                    true,
-                                                                    true,
-                                                                    false)),
-                                                                    (String
-                                                                    ((Ascii
-                                                                    (false,
-                                                                    false,
-                                                                    true,
-                                                                    false,
-                                                                    false,
-                                                                    true,
-                                                                    true,
-                                                                    false)),
-                                                                    (String
-                                                                    ((Ascii
-                                                                    (true,
-                                                                    false,
-                                                                    false,
-                                                                    true,
-                                                                    false,
-                                                                    true,
-                                                                    true,
-                                                                    false)),
-                                                                    (String
-                                                                    ((Ascii
-                                                                    (false,
-                                                                    true,
-                                                                    true,
-                                                                    false,
-                                                                    false,
-                                                                    true,
-                                                                    true,
-                                                                    false)),
-                                                                    (String
-                                                                    ((Ascii
-                                                                    (true,
-                                                                    false,
-                                                                    false,
-                                                                    true,
-                                                                    false,
-                                                                    true,
-                                                                    true,
-                                                                    false)),
-                                                                    (String
-                                                                    ((Ascii
-                                                                    (true,
-                                                                    false,
-                                                                    true,
-                                                                    false,
-                                                                    false,
-                                                                    true,
-                                                                    true,
-                                                                    false)),
-                                                                    (String
-                                                                    ((Ascii
-                                                                    (false,
-                                                                    true,
-                                                                    false,
-                                                                    false,
-                                                                    true,
-                                                                    true,
-                                                                    true,
-                                                                    false)),
-                                                                    EmptyString))))))))))))))))))))))))))))
-                                                                    []) :: (
-    (mkconst (String ((Ascii (false, true, false, false, true, true, true,
-      false)), (String ((Ascii (true, false, true, false, false, true, true,
-      false)), (String ((Ascii (true, true, false, false, false, true, true,
-      false)), (String ((Ascii (true, true, true, true, false, true, true,
-      false)), (String ((Ascii (false, true, false, false, true, true, true,
-      false)), (String ((Ascii (false, false, true, false, false, true, true,
-      false)), (String ((Ascii (true, true, false, false, true, false, true,
-      false)), (String ((Ascii (true, false, false, true, false, true, true,
-      false)), (String ((Ascii (false, true, false, true, true, true, true,
-      false)), (String ((Ascii (true, false, true, false, false, true, true,
-      false)), EmptyString)))))))))))))))))))) ((Npos (XO (XO (XO (XO (XI
-      XH)))))) :: ((Npos (XI (XO (XO (XI (XI XH)))))) :: ((Npos (XO (XO (XI
-      (XO (XI XH)))))) :: [])))) :: ((mkconst (String ((Ascii (false, true,
-                                       false, false, false, true, true,
-                                       false)), (String ((Ascii (false,
-                                       false, true, true, false, true, true,
-                                       false)), (String ((Ascii (true, true,
-                                       true, true, false, true, true,
-                                       false)), (String ((Ascii (true, true,
-                                       false, false, false, true, true,
-                                       false)), (String ((Ascii (true, true,
-                                       false, true, false, true, true,
-                                       false)), (String ((Ascii (true, false,
-                                       false, true, false, true, true,
-                                       false)), (String ((Ascii (false, true,
-                                       true, true, false, true, true,
-                                       false)), (String ((Ascii (true, true,
-                                       true, false, false, true, true,
-                                       false)), (String ((Ascii (false, true,
-                                       true, false, false, false, true,
-                                       false)), (String ((Ascii (true, false,
-                                       false, false, false, true, true,
-                                       false)), (String ((Ascii (true, true,
-                                       false, false, false, true, true,
-                                       false)), (String ((Ascii (false,
-                                       false, true, false, true, true, true,
-                                       false)), (String ((Ascii (true, true,
-                                       true, true, false, true, true,
-                                       false)), (String ((Ascii (false, true,
-                                       false, false, true, true, true,
-                                       false)),
-                                       EmptyString))))))))))))))))))))))))))))
-                                       ((Npos (XI (XO (XO (XO (XI
-                                       XH)))))) :: ((Npos (XO (XO (XO (XO (XI
-                                       XH)))))) :: []))) :: ((mkconst (String
-                                                               ((Ascii
-                                                               (false, true,
-                                                               true, false,
-                                                               false, true,
-                                                               true, false)),
-                                                               (String
-                                                               ((Ascii (true,
-                                                               true, true,
-                                                               true, false,
-                                                               true, true,
-                                                               false)),
-                                                               (String
-                                                               ((Ascii
-                                                               (false, true,
-                                                               false, false,
-                                                               true, true,
-                                                               true, false)),
-                                                               (String
-                                                               ((Ascii (true,
-                                                               false, true,
-                                                               true, false,
-                                                               true, true,
-                                                               false)),
-                                                               (String
-                                                               ((Ascii (true,
-                                                               false, false,
-                                                               false, false,
-                                                               true, true,
-                                                               false)),
-                                                               (String
-                                                               ((Ascii
-                                                               (false, false,
-                                                               true, false,
-                                                               true, true,
-                                                               true, false)),
-                                                               (String
-                                                               ((Ascii (true,
-                                                               true, false,
-                                                               false, false,
-                                                               false, true,
-                                                               false)),
-                                                               (String
-                                                               ((Ascii (true,
-                                                               true, true,
-                                                               true, false,
-                                                               true, true,
-                                                               false)),
-                                                               (String
-                                                               ((Ascii
-                                                               (false, false,
-                                                               true, false,
-                                                               false, true,
-                                                               true, false)),
-                                                               (String
-                                                               ((Ascii (true,
-                                                               false, true,
-                                                               false, false,
-                                                               true, true,
-                                                               false)),
-                                                               EmptyString))))))))))))))))))))
-                                                               ((Npos (XI (XO
-                                                               (XO (XO (XI
-                                                               XH)))))) :: [])) :: (
-    (mkcut (S (S (S (S (S (S (S (S (S (S (S (S (S (S (S (S (S (S (S (S (S (S
-      (S (S (S (S (S (S (S (S (S (S (S (S (S (S (S (S (S (S
-      O)))))))))))))))))))))))))))))))))))))))) (S (S (S (S (S (S (S (S (S (S
-      (S (S (S (S (S (S (S (S (S (S (S (S (S (S (S (S (S (S (S (S (S (S (S (S
-      (S (S (S (S (S (S (S (S (S (S (S (S (S (S (S (S (S (S (S (S (S (S (S (S
-      (S (S (S (S (S
-      O)))))))))))))))))))))))))))))))))))))))))))))))))))))))))))))))
-      (String ((Ascii (true, false, false, true, false, false, true, false)),
-      (String ((Ascii (true, false, true, true, false, true, true, false)),
-      (String ((Ascii (true, false, true, true, false, true, true, false)),
-      (String ((Ascii (true, false, true, false, false, true, true, false)),
-      (String ((Ascii (false, false, true, false, false, true, true, false)),
-      (String ((Ascii (true, false, false, true, false, true, true, false)),
-      (String ((Ascii (true, false, false, false, false, true, true, false)),
-      (String ((Ascii (false, false, true, false, true, true, true, false)),
-      (String ((Ascii (true, false, true, false, false, true, true, false)),
-      (String ((Ascii (false, false, true, false, false, false, true,
-      false)), (String ((Ascii (true, false, true, false, false, true, true,
-      false)), (String ((Ascii (true, true, false, false, true, true, true,
-      false)), (String ((Ascii (false, false, true, false, true, true, true,
-      false)), (String ((Ascii (true, false, false, true, false, true, true,
-      false)), (String ((Ascii (false, true, true, true, false, true, true,
-      false)), (String ((Ascii (true, false, false, false, false, true, true,
-      false)), (String ((Ascii (false, false, true, false, true, true, true,
-      false)), (String ((Ascii (true, false, false, true, false, true, true,
-      false)), (String ((Ascii (true, true, true, true, false, true, true,
-      false)), (String ((Ascii (false, true, true, true, false, true, true,
-      false)), (String ((Ascii (false, true, true, true, false, false, true,
-      false)), (String ((Ascii (true, false, false, false, false, true, true,
-      false)), (String ((Ascii (true, false, true, true, false, true, true,
-      false)), (String ((Ascii (true, false, true, false, false, true, true,
-      false)), EmptyString))))))))))))))))))))))))))))))))))))))))))))))))
-      ((String ((Ascii (false, false, false, false, true, true, true,
-      false)), (String ((Ascii (true, false, false, false, false, true, true,
-      false)), (String ((Ascii (false, true, false, false, true, true, true,
-      false)), (String ((Ascii (true, true, false, false, true, true, true,
-      false)), (String ((Ascii (true, false, true, false, false, true, true,
-      false)), (String ((Ascii (true, true, false, false, true, false, true,
-      false)), (String ((Ascii (false, false, true, false, true, true, true,
-      false)), (String ((Ascii (false, true, false, false, true, true, true,
-      false)), (String ((Ascii (true, false, false, true, false, true, true,
-      false)), (String ((Ascii (false, true, true, true, false, true, true,
-      false)), (String ((Ascii (true, true, true, false, false, true, true,
-      false)), (String ((Ascii (false, true, true, false, false, false, true,
-      false)), (String ((Ascii (true, false, false, true, false, true, true,
-      false)), (String ((Ascii (true, false, true, false, false, true, true,
-      false)), (String ((Ascii (false, false, true, true, false, true, true,
-      false)), (String ((Ascii (false, false, true, false, false, true, true,
-      false)), (String ((Ascii (true, true, true, false, true, false, true,
-      false)), (String ((Ascii (true, false, false, true, false, true, true,
-      false)), (String ((Ascii (false, false, true, false, true, true, true,
-      false)), (String ((Ascii (false, false, false, true, false, true, true,
-      false)), (String ((Ascii (true, true, true, true, false, false, true,
-      false)), (String ((Ascii (false, false, false, false, true, true, true,
-      false)), (String ((Ascii (false, false, true, false, true, true, true,
-      false)), (String ((Ascii (true, true, false, false, true, true, true,
-      false)),
-      EmptyString)))))))))))))))))))))))))))))))))))))))))))))))) :: [])) :: (
-    (mkcut (S (S (S (S (S (S (S (S (S (S (S (S (S (S (S (S (S (S (S (S (S (S
-      (S (S (S (S (S (S (S (S (S (S (S (S (S (S (S (S (S (S (S (S (S (S (S (S
-      (S (S (S (S (S (S (S (S (S (S (S (S (S (S (S (S (S
-      O))))))))))))))))))))))))))))))))))))))))))))))))))))))))))))))) (S (S
-      (S (S (S (S (S (S (S (S (S (S (S (S (S (S (S (S (S (S (S (S (S (S (S (S
-      (S (S (S (S (S (S (S (S (S (S (S (S (S (S (S (S (S (S (S (S (S (S (S (S
-      (S (S (S (S (S (S (S (S (S (S (S (S (S (S (S (S (S (S (S (S (S (S (S (S
-      (S (S (S (S (S (S (S (S (S (S (S (S
-      O))))))))))))))))))))))))))))))))))))))))))))))))))))))))))))))))))))))))))))))))))))))
-      (String ((Ascii (true, false, false, true, false, false, true, false)),
-      (String ((Ascii (true, false, true, true, false, true, true, false)),
-      (String ((Ascii (true, false, true, true, false, true, true, false)),
-      (String ((Ascii (true, false, true, false, false, true, true, false)),
-      (String ((Ascii (false, false, true, false, false, true, true, false)),
-      (String ((Ascii (true, false, false, true, false, true, true, false)),
-      (String ((Ascii (true, false, false, false, false, true, true, false)),
-      (String ((Ascii (false, false, true, false, true, true, true, false)),
-      (String ((Ascii (true, false, true, false, false, true, true, false)),
-      (String ((Ascii (true, true, true, true, false, false, true, false)),
-      (String ((Ascii (false, true, false, false, true, true, true, false)),
-      (String ((Ascii (true, false, false, true, false, true, true, false)),
-      (String ((Ascii (true, true, true, false, false, true, true, false)),
-      (String ((Ascii (true, false, false, true, false, true, true, false)),
-      (String ((Ascii (false, true, true, true, false, true, true, false)),
-      (String ((Ascii (false, true, true, true, false, false, true, false)),
-      (String ((Ascii (true, false, false, false, false, true, true, false)),
-      (String ((Ascii (true, false, true, true, false, true, true, false)),
-      (String ((Ascii (true, false, true, false, false, true, true, false)),
-      EmptyString)))))))))))))))))))))))))))))))))))))) ((String ((Ascii
-      (false, false, false, false, true, true, true, false)), (String ((Ascii
-      (true, false, false, false, false, true, true, false)), (String ((Ascii
-      (false, true, false, false, true, true, true, false)), (String ((Ascii
-      (true, true, false, false, true, true, true, false)), (String ((Ascii
-      (true, false, true, false, false, true, true, false)), (String ((Ascii
-      (true, true, false, false, true, false, true, false)), (String ((Ascii
-      (false, false, true, false, true, true, true, false)), (String ((Ascii
-      (false, true, false, false, true, true, true, false)), (String ((Ascii
-      (true, false, false, true, false, true, true, false)), (String ((Ascii
-      (false, true, true, true, false, true, true, false)), (String ((Ascii
-      (true, true, true, false, false, true, true, false)), (String ((Ascii
-      (false, true, true, false, false, false, true, false)), (String ((Ascii
-      (true, false, false, true, false, true, true, false)), (String ((Ascii
-      (true, false, true, false, false, true, true, false)), (String ((Ascii
-      (false, false, true, true, false, true, true, false)), (String ((Ascii
-      (false, false, true, false, false, true, true, false)), (String ((Ascii
-      (true, true, true, false, true, false, true, false)), (String ((Ascii
-      (true, false, false, true, false, true, true, false)), (String ((Ascii
-      (false, false, true, false, true, true, true, false)), (String ((Ascii
-      (false, false, false, true, false, true, true, false)), (String ((Ascii
-      (true, true, true, true, false, false, true, false)), (String ((Ascii
-      (false, false, false, false, true, true, true, false)), (String ((Ascii
-      (false, false, true, false, true, true, true, false)), (String ((Ascii
-      (true, true, false, false, true, true, true, false)),
-      EmptyString)))))))))))))))))))))))))))))))))))))))))))))))) :: [])) :: (
-    (mkcut (S (S (S (S (S (S (S (S (S (S (S (S (S (S (S (S (S (S (S (S (S (S
-      (S (S (S (S (S (S (S (S (S (S (S (S (S (S (S (S (S (S (S (S (S (S (S (S
-      (S (S (S (S (S (S (S (S (S (S (S (S (S (S (S (S (S (S (S (S (S (S (S (S
-      (S (S (S (S (S (S (S (S (S (S (S (S (S (S (S (S
-      O))))))))))))))))))))))))))))))))))))))))))))))))))))))))))))))))))))))))))))))))))))))
-      (S (S (S (S (S (S (S (S (S (S (S (S (S (S (S (S (S (S (S (S (S (S (S (S
-      (S (S (S (S (S (S (S (S (S (S (S (S (S (S (S (S (S (S (S (S (S (S (S (S
-      (S (S (S (S (S (S (S (S (S (S (S (S (S (S (S (S (S (S (S (S (S (S (S (S
-      (S (S (S (S (S (S (S (S (S (S (S (S (S (S (S (S (S (S (S (S (S (S
-      O))))))))))))))))))))))))))))))))))))))))))))))))))))))))))))))))))))))))))))))))))))))))))))))
-      (String ((Ascii (false, true, false, false, true, false, true, false)),
-      (String ((Ascii (true, false, true, false, false, true, true, false)),
-      (String ((Ascii (false, true, true, false, false, true, true, false)),
-      (String ((Ascii (true, false, true, false, false, true, true, false)),
-      (String ((Ascii (false, true, false, false, true, true, true, false)),
-      (String ((Ascii (true, false, true, false, false, true, true, false)),
-      (String ((Ascii (false, true, true, true, false, true, true, false)),
-      (String ((Ascii (true, true, false, false, false, true, true, false)),
-      (String ((Ascii (true, false, true, false, false, true, true, false)),
-      (String ((Ascii (true, true, false, false, false, false, true, false)),
-      (String ((Ascii (true, true, true, true, false, true, true, false)),
-      (String ((Ascii (false, false, true, false, false, true, true, false)),
-      (String ((Ascii (true, false, true, false, false, true, true, false)),
-      EmptyString)))))))))))))))))))))))))) ((String ((Ascii (false, false,
-      false, false, true, true, true, false)), (String ((Ascii (true, false,
-      false, false, false, true, true, false)), (String ((Ascii (false, true,
-      false, false, true, true, true, false)), (String ((Ascii (true, true,
-      false, false, true, true, true, false)), (String ((Ascii (true, false,
-      true, false, false, true, true, false)), (String ((Ascii (true, true,
-      false, false, true, false, true, false)), (String ((Ascii (false,
-      false, true, false, true, true, true, false)), (String ((Ascii (false,
-      true, false, false, true, true, true, false)), (String ((Ascii (true,
-      false, false, true, false, true, true, false)), (String ((Ascii (false,
-      true, true, true, false, true, true, false)), (String ((Ascii (true,
-      true, true, false, false, true, true, false)), (String ((Ascii (false,
-      true, true, false, false, false, true, false)), (String ((Ascii (true,
-      false, false, true, false, true, true, false)), (String ((Ascii (true,
-      false, true, false, false, true, true, false)), (String ((Ascii (false,
-      false, true, true, false, true, true, false)), (String ((Ascii (false,
-      false, true, false, false, true, true, false)), (String ((Ascii (true,
-      true, true, false, true, false, true, false)), (String ((Ascii (true,
-      false, false, true, false, true, true, false)), (String ((Ascii (false,
-      false, true, false, true, true, true, false)), (String ((Ascii (false,
-      false, false, true, false, true, true, false)), (String ((Ascii (true,
-      true, true, true, false, false, true, false)), (String ((Ascii (false,
-      false, false, false, true, true, true, false)), (String ((Ascii (false,
-      false, true, false, true, true, true, false)), (String ((Ascii (true,
-      true, false, false, true, true, true, false)),
-      EmptyString)))))))))))))))))))))))))))))))))))))))))))))))) :: [])) :: [])))))))))))) }
-
-(** val l_IATBatchHeader : layout **)
-
-let l_IATBatchHeader =
-  { l_name = (String ((Ascii (true, false, false, true, false, false, true,
-    false)), (String ((Ascii (true, false, false, false, false, false, true,
-    false)), (String ((Ascii (false, false, true, false, true, false, true,
-    false)), (String ((Ascii (false, true, false, false, false, false, true,
-    false)), (String ((Ascii (true, false, false, false, false, true, true,
-    false)), (String ((Ascii (false, false, true, false, true, true, true,
-    false)), (String ((Ascii (true, true, false, false, false, true, true,
-    false)), (String ((Ascii (false, false, false, true, false, true, true,
-    false)), (String ((Ascii (false, false, false, true, false, false, true,
-    false)), (String ((Ascii (true, false, true, false, false, true, true,
-    false)), (String ((Ascii (true, false, false, false, false, true, true,
-    false)), (String ((Ascii (false, false, true, false, false, true, true,
-    false)), (String ((Ascii (true, false, true, false, false, true, true,
-    false)), (String ((Ascii (false, true, false, false, true, true, true,
-    false)), EmptyString)))))))))))))))))))))))))))); l_ix = IRune; l_segs =
-    ((SLit ((Npos (XI (XO (XI (XO (XI XH)))))) :: [])) :: ((SItoa (String
-    ((Ascii (true, true, false, false, true, false, true, false)), (String
-    ((Ascii (true, false, true, false, false, true, true, false)), (String
-    ((Ascii (false, true, false, false, true, true, true, false)), (String
-    ((Ascii (false, true, true, false, true, true, true, false)), (String
-    ((Ascii (true, false, false, true, false, true, true, false)), (String
-    ((Ascii (true, true, false, false, false, true, true, false)), (String
-    ((Ascii (true, false, true, false, false, true, true, false)), (String
-    ((Ascii (true, true, false, false, false, false, true, false)), (String
-    ((Ascii (false, false, true, true, false, true, true, false)), (String
-    ((Ascii (true, false, false, false, false, true, true, false)), (String
-    ((Ascii (true, true, false, false, true, true, true, false)), (String
-    ((Ascii (true, true, false, false, true, true, true, false)), (String
-    ((Ascii (true, true, false, false, false, false, true, false)), (String
-    ((Ascii (true, true, true, true, false, true, true, false)), (String
-    ((Ascii (false, false, true, false, false, true, true, false)), (String
-    ((Ascii (true, false, true, false, false, true, true, false)),
-    EmptyString))))))))))))))))))))))))))))))))) :: ((SAlpha ((String ((Ascii
-    (true, false, false, true, false, false, true, false)), (String ((Ascii
-    (true, false, false, false, false, false, true, false)), (String ((Ascii
-    (false, false, true, false, true, false, true, false)), (String ((Ascii
-    (true, false, false, true, false, false, true, false)), (String ((Ascii
-    (false, true, true, true, false, true, true, false)), (String ((Ascii
-    (false, false, true, false, false, true, true, false)), (String ((Ascii
-    (true, false, false, true, false, true, true, false)), (String ((Ascii
-    (true, true, false, false, false, true, true, false)), (String ((Ascii
-    (true, false, false, false, false, true, true, false)), (String ((Ascii
-    (false, false, true, false, true, true, true, false)), (String ((Ascii
-    (true, true, true, true, false, true, true, false)), (String ((Ascii
-    (false, true, false, false, true, true, true, false)),
-    EmptyString)))))))))))))))))))))))), (S (S (S (S (S (S (S (S (S (S (S (S
-    (S (S (S (S O)))))))))))))))))) :: ((SAlpha ((String ((Ascii (false,
-    true, true, false, false, false, true, false)), (String ((Ascii (true,
-    true, true, true, false, true, true, false)), (String ((Ascii (false,
-    true, false, false, true, true, true, false)), (String ((Ascii (true,
-    false, true, false, false, true, true, false)), (String ((Ascii (true,
-    false, false, true, false, true, true, false)), (String ((Ascii (true,
-    true, true, false, false, true, true, false)), (String ((Ascii (false,
-    true, true, true, false, true, true, false)), (String ((Ascii (true,
-    false, true, false, false, false, true, false)), (String ((Ascii (false,
-    false, false, true, true, true, true, false)), (String ((Ascii (true,
-    true, false, false, false, true, true, false)), (String ((Ascii (false,
-    false, false, true, false, true, true, false)), (String ((Ascii (true,
-    false, false, false, false, true, true, false)), (String ((Ascii (false,
-    true, true, true, false, true, true, false)), (String ((Ascii (true,
-    true, true, false, false, true, true, false)), (String ((Ascii (true,
-    false, true, false, false, true, true, false)), (String ((Ascii (true,
-    false, false, true, false, false, true, false)), (String ((Ascii (false,
-    true, true, true, false, true, true, false)), (String ((Ascii (false,
-    false, true, false, false, true, true, false)), (String ((Ascii (true,
-    false, false, true, false, true, true, false)), (String ((Ascii (true,
-    true, false, false, false, true, true, false)), (String ((Ascii (true,
-    false, false, false, false, true, true, false)), (String ((Ascii (false,
-    false, true, false, true, true, true, false)), (String ((Ascii (true,
-    true, true, true, false, true, true, false)), (String ((Ascii (false,
-    true, false, false, true, true, true, false)),
-    EmptyString)))))))))))))))))))))))))))))))))))))))))))))))), (S (S
-    O)))) :: ((SNum ((String ((Ascii (false, true, true, false, false, false,
-    true, false)), (String ((Ascii (true, true, true, true, false, true,
-    true, false)), (String ((Ascii (false, true, false, false, true, true,
-    true, false)), (String ((Ascii (true, false, true, false, false, true,
-    true, false)), (String ((Ascii (true, false, false, true, false, true,
-    true, false)), (String ((Ascii (true, true, true, false, false, true,
-    true, false)), (String ((Ascii (false, true, true, true, false, true,
-    true, false)), (String ((Ascii (true, false, true, false, false, false,
-    true, false)), (String ((Ascii (false, false, false, true, true, true,
-    true, false)), (String ((Ascii (true, true, false, false, false, true,
-    true, false)), (String ((Ascii (false, false, false, true, false, true,
-    true, false)), (String ((Ascii (true, false, false, false, false, true,
-    true, false)), (String ((Ascii (false, true, true, true, false, true,
-    true, false)), (String ((Ascii (true, true, true, false, false, true,
-    true, false)), (String ((Ascii (true, false, true, false, false, true,
-    true, false)), (String ((Ascii (false, true, false, false, true, false,
-    true, false)), (String ((Ascii (true, false, true, false, false, true,
-    true, false)), (String ((Ascii (false, true, true, false, false, true,
-    true, false)), (String ((Ascii (true, false, true, false, false, true,
-    true, false)), (String ((Ascii (false, true, false, false, true, true,
-    true, false)), (String ((Ascii (true, false, true, false, false, true,
-    true, false)), (String ((Ascii (false, true, true, true, false, true,
-    true, false)), (String ((Ascii (true, true, false, false, false, true,
-    true, false)), (String ((Ascii (true, false, true, false, false, true,
-    true, false)), (String ((Ascii (true, false, false, true, false, false,
-    true, false)), (String ((Ascii (false, true, true, true, false, true,
-    true, false)), (String ((Ascii (false, false, true, false, false, true,
-    true, false)), (String ((Ascii (true, false, false, true, false, true,
-    true, false)), (String ((Ascii (true, true, false, false, false, true,
-    true, false)), (String ((Ascii (true, false, false, false, false, true,
-    true, false)), (String ((Ascii (false, false, true, false, true, true,
-    true, false)), (String ((Ascii (true, true, true, true, false, true,
-    true, false)), (String ((Ascii (false, true, false, false, true, true,
-    true, false)),
-    EmptyString)))))))))))))))))))))))))))))))))))))))))))))))))))))))))))))))))),
-    (S O))) :: ((SCustom ((String ((Ascii (true, false, false, true, false,
-    false, true, false)), (String ((Ascii (true, false, false, false, false,
-    false, true, false)), (String ((Ascii (false, false, true, false, true,
-    false, true, false)), (String ((Ascii (false, true, false, false, false,
-    false, true, false)), (String ((Ascii (true, false, false, false, false,
-    true, true, false)), (String ((Ascii (false, false, true, false, true,
-    true, true, false)), (String ((Ascii (true, true, false, false, false,
-    true, true, false)), (String ((Ascii (false, false, false, true, false,
-    true, true, false)), (String ((Ascii (false, false, false, true, false,
-    false, true, false)), (String ((Ascii (true, false, true, false, false,
-    true, true, false)), (String ((Ascii (true, false, false, false, false,
-    true, true, false)), (String ((Ascii (false, false, true, false, false,
-    true, true, false)), (String ((Ascii (true, false, true, false, false,
-    true, true, false)), (String ((Ascii (false, true, false, false, true,
-    true, true, false)), (String ((Ascii (false, true, true, true, false,
-    true, false, false)), (String ((Ascii (false, true, true, false, false,
-    false, true, false)), (String ((Ascii (true, true, true, true, false,
-    true, true, false)), (String ((Ascii (false, true, false, false, true,
-    true, true, false)), (String ((Ascii (true, false, true, false, false,
-    true, true, false)), (String ((Ascii (true, false, false, true, false,
-    true, true, false)), (String ((Ascii (true, true, true, false, false,
-    true, true, false)), (String ((Ascii (false, true, true, true, false,
-    true, true, false)), (String ((Ascii (true, false, true, false, false,
-    false, true, false)), (String ((Ascii (false, false, false, true, true,
-    true, true, false)), (String ((Ascii (true, true, false, false, false,
-    true, true, false)), (String ((Ascii (false, false, false, true, false,
-    true, true, false)), (String ((Ascii (true, false, false, false, false,
-    true, true, false)), (String ((Ascii (false, true, true, true, false,
-    true, true, false)), (String ((Ascii (true, true, true, false, false,
-    true, true, false)), (String ((Ascii (true, false, true, false, false,
-    true, true, false)), (String ((Ascii (false, true, false, false, true,
-    false, true, false)), (String ((Ascii (true, false, true, false, false,
-    true, true, false)), (String ((Ascii (false, true, true, false, false,
-    true, true, false)), (String ((Ascii (true, false, true, false, false,
-    true, true, false)), (String ((Ascii (false, true, false, false, true,
-    true, true, false)), (String ((Ascii (true, false, true, false, false,
-    true, true, false)), (String ((Ascii (false, true, true, true, false,
-    true, true, false)), (String ((Ascii (true, true, false, false, false,
-    true, true, false)), (String ((Ascii (true, false, true, false, false,
-    true, true, false)), (String ((Ascii (false, true, true, false, false,
-    false, true, false)), (String ((Ascii (true, false, false, true, false,
-    true, true, false)), (String ((Ascii (true, false, true, false, false,
-    true, true, false)), (String ((Ascii (false, false, true, true, false,
-    true, true, false)), (String ((Ascii (false, false, true, false, false,
-    true, true, false)),
-    EmptyString)))))))))))))))))))))))))))))))))))))))))))))))))))))))))))))))))))))))))))))))))))))))),
-    (String ((Ascii (true, true, false, false, false, true, true, false)),
-    (String ((Ascii (false, false, true, false, false, true, true, false)),
-    (String ((Ascii (false, false, false, true, true, true, false, false)),
-    (String ((Ascii (false, false, false, true, true, true, false, false)),
-    (String ((Ascii (true, false, false, false, false, true, true, false)),
-    (String ((Ascii (false, false, false, false, true, true, false, false)),
-    (String ((Ascii (false, false, true, false, false, true, true, false)),
-    (String ((Ascii (true, true, true, false, true, true, false, false)),
-    (String ((Ascii (true, false, true, false, true, true, false, false)),
-    (String ((Ascii (true, false, false, false, false, true, true, false)),
-    (String ((Ascii (false, true, true, false, false, true, true, false)),
-    (String ((Ascii (true, false, false, true, true, true, false, false)),
-    EmptyString)))))))))))))))))))))))))) :: ((SAlpha ((String ((Ascii (true,
-    false, false, true, false, false, true, false)), (String ((Ascii (true,
-    true, false, false, true, false, true, false)), (String ((Ascii (true,
-    true, true, true, false, false, true, false)), (String ((Ascii (false,
-    false, true, false, false, false, true, false)), (String ((Ascii (true,
-    false, true, false, false, true, true, false)), (String ((Ascii (true,
-    true, false, false, true, true, true, false)), (String ((Ascii (false,
-    false, true, false, true, true, true, false)), (String ((Ascii (true,
-    false, false, true, false, true, true, false)), (String ((Ascii (false,
-    true, true, true, false, true, true, false)), (String ((Ascii (true,
-    false, false, false, false, true, true, false)), (String ((Ascii (false,
-    false, true, false, true, true, true, false)), (String ((Ascii (true,
-    false, false, true, false, true, true, false)), (String ((Ascii (true,
-    true, true, true, false, true, true, false)), (String ((Ascii (false,
-    true, true, true, false, true, true, false)), (String ((Ascii (true,
-    true, false, false, false, false, true, false)), (String ((Ascii (true,
-    true, true, true, false, true, true, false)), (String ((Ascii (true,
-    false, true, false, true, true, true, false)), (String ((Ascii (false,
-    true, true, true, false, true, true, false)), (String ((Ascii (false,
-    false, true, false, true, true, true, false)), (String ((Ascii (false,
-    true, false, false, true, true, true, false)), (String ((Ascii (true,
-    false, false, true, true, true, true, false)), (String ((Ascii (true,
-    true, false, false, false, false, true, false)), (String ((Ascii (true,
-    true, true, true, false, true, true, false)), (String ((Ascii (false,
-    false, true, false, false, true, true, false)), (String ((Ascii (true,
-    false, true, false, false, true, true, false)),
-    EmptyString)))))))))))))))))))))))))))))))))))))))))))))))))), (S (S
-    O)))) :: ((SAlpha ((String ((Ascii (true, true, true, true, false, false,
-    true, false)), (String ((Ascii (false, true, false, false, true, true,
-    true, false)), (String ((Ascii (true, false, false, true, false, true,
-    true, false)), (String ((Ascii (true, true, true, false, false, true,
-    true, false)), (String ((Ascii (true, false, false, true, false, true,
-    true, false)), (String ((Ascii (false, true, true, true, false, true,
-    true, false)), (String ((Ascii (true, false, false, false, false, true,
-    true, false)), (String ((Ascii (false, false, true, false, true, true,
-    true, false)), (String ((Ascii (true, true, true, true, false, true,
-    true, false)), (String ((Ascii (false, true, false, false, true, true,
-    true, false)), (String ((Ascii (true, false, false, true, false, false,
-    true, false)), (String ((Ascii (false, false, true, false, false, true,
-    true, false)), (String ((Ascii (true, false, true, false, false, true,
-    true, false)), (String ((Ascii (false, true, true, true, false, true,
-    true, false)), (String ((Ascii (false, false, true, false, true, true,
-    true, false)), (String ((Ascii (true, false, false, true, false, true,
-    true, false)), (String ((Ascii (false, true, true, false, false, true,
-    true, false)), (String ((Ascii (true, false, false, true, false, true,
-    true, false)), (String ((Ascii (true, true, false, false, false, true,
-    true, false)), (String ((Ascii (true, false, false, false, false, true,
-    true, false)), (String ((Ascii (false, false, true, false, true, true,
-    true, false)), (String ((Ascii (true, false, false, true, false, true,
-    true, false)), (String ((Ascii (true, true, true, true, false, true,
-    true, false)), (String ((Ascii (false, true, true, true, false, true,
-    true, false)),
-    EmptyString)))))))))))))))))))))))))))))))))))))))))))))))), (S (S (S (S
-    (S (S (S (S (S (S O)))))))))))) :: ((SRaw (String ((Ascii (true, true,
-    false, false, true, false, true, false)), (String ((Ascii (false, false,
-    true, false, true, true, true, false)), (String ((Ascii (true, false,
-    false, false, false, true, true, false)), (String ((Ascii (false, true,
-    true, true, false, true, true, false)), (String ((Ascii (false, false,
-    true, false, false, true, true, false)), (String ((Ascii (true, false,
-    false, false, false, true, true, false)), (String ((Ascii (false, true,
-    false, false, true, true, true, false)), (String ((Ascii (false, false,
-    true, false, false, true, true, false)), (String ((Ascii (true, false,
-    true, false, false, false, true, false)), (String ((Ascii (false, true,
-    true, true, false, true, true, false)), (String ((Ascii (false, false,
-    true, false, true, true, true, false)), (String ((Ascii (false, true,
-    false, false, true, true, true, false)), (String ((Ascii (true, false,
-    false, true, true, true, true, false)), (String ((Ascii (true, true,
-    false, false, false, false, true, false)), (String ((Ascii (false, false,
-    true, true, false, true, true, false)), (String ((Ascii (true, false,
-    false, false, false, true, true, false)), (String ((Ascii (true, true,
-    false, false, true, true, true, false)), (String ((Ascii (true, true,
-    false, false, true, true, true, false)), (String ((Ascii (true, true,
-    false, false, false, false, true, false)), (String ((Ascii (true, true,
-    true, true, false, true, true, false)), (String ((Ascii (false, false,
-    true, false, false, true, true, false)), (String ((Ascii (true, false,
-    true, false, false, true, true, false)),
-    EmptyString))))))))))))))))))))))))))))))))))))))))))))) :: ((SAlpha
-    ((String ((Ascii (true, true, false, false, false, false, true, false)),
-    (String ((Ascii (true, true, true, true, false, true, true, false)),
-    (String ((Ascii (true, false, true, true, false, true, true, false)),
-    (String ((Ascii (false, false, false, false, true, true, true, false)),
-    (String ((Ascii (true, false, false, false, false, true, true, false)),
-    (String ((Ascii (false, true, true, true, false, true, true, false)),
-    (String ((Ascii (true, false, false, true, true, true, true, false)),
-    (String ((Ascii (true, false, true, false, false, false, true, false)),
-    (String ((Ascii (false, true, true, true, false, true, true, false)),
-    (String ((Ascii (false, false, true, false, true, true, true, false)),
-    (String ((Ascii (false, true, false, false, true, true, true, false)),
-    (String ((Ascii (true, false, false, true, true, true, true, false)),
-    (String ((Ascii (false, false, true, false, false, false, true, false)),
-    (String ((Ascii (true, false, true, false, false, true, true, false)),
-    (String ((Ascii (true, true, false, false, true, true, true, false)),
-    (String ((Ascii (true, true, false, false, false, true, true, false)),
-    (String ((Ascii (false, true, false, false, true, true, true, false)),
-    (String ((Ascii (true, false, false, true, false, true, true, false)),
-    (String ((Ascii (false, false, false, false, true, true, true, false)),
-    (String ((Ascii (false, false, true, false, true, true, true, false)),
-    (String ((Ascii (true, false, false, true, false, true, true, false)),
-    (String ((Ascii (true, true, true, true, false, true, true, false)),
-    (String ((Ascii (false, true, true, true, false, true, true, false)),
-    EmptyString)))))))))))))))))))))))))))))))))))))))))))))), (S (S (S (S (S
-    (S (S (S (S (S O)))))))))))) :: ((SAlpha ((String ((Ascii (true, false,
-    false, true, false, false, true, false)), (String ((Ascii (true, true,
-    false, false, true, false, true, false)), (String ((Ascii (true, true,
-    true, true, false, false, true, false)), (String ((Ascii (true, true,
-    true, true, false, false, true, false)), (String ((Ascii (false, true,
-    false, false, true, true, true, false)), (String ((Ascii (true, false,
-    false, true, false, true, true, false)), (String ((Ascii (true, true,
-    true, false, false, true, true, false)), (String ((Ascii (true, false,
-    false, true, false, true, true, false)), (String ((Ascii (false, true,
-    true, true, false, true, true, false)), (String ((Ascii (true, false,
-    false, false, false, true, true, false)), (String ((Ascii (false, false,
-    true, false, true, true, true, false)), (String ((Ascii (true, false,
-    false, true, false, true, true, false)), (String ((Ascii (false, true,
-    true, true, false, true, true, false)), (String ((Ascii (true, true,
-    true, false, false, true, true, false)), (String ((Ascii (true, true,
-    false, false, false, false, true, false)), (String ((Ascii (true, false,
-    true, false, true, true, true, false)), (String ((Ascii (false, true,
-    false, false, true, true, true, false)), (String ((Ascii (false, true,
-    false, false, true, true, true, false)), (String ((Ascii (true, false,
-    true, false, false, true, true, false)), (String ((Ascii (false, true,
-    true, true, false, true, true, false)), (String ((Ascii (true, true,
-    false, false, false, true, true, false)), (String ((Ascii (true, false,
-    false, true, true, true, true, false)), (String ((Ascii (true, true,
-    false, false, false, false, true, false)), (String ((Ascii (true, true,
-    true, true, false, true, true, false)), (String ((Ascii (false, false,
-    true, false, false, true, true, false)), (String ((Ascii (true, false,
-    true, false, false, true, true, false)),
-    EmptyString)))))))))))))))))))))))))))))))))))))))))))))))))))), (S (S (S
-    O))))) :: ((SAlpha ((String ((Ascii (true, false, false, true, false,
-    false, true, false)), (String ((Ascii (true, true, false, false, true,
-    false, true, false)), (String ((Ascii (true, true, true, true, false,
-    false, true, false)), (String ((Ascii (false, false, true, false, false,
-    false, true, false)), (String ((Ascii (true, false, true, false, false,
-    true, true, false)), (String ((Ascii (true, true, false, false, true,
-    true, true, false)), (String ((Ascii (false, false, true, false, true,
-    true, true, false)), (String ((Ascii (true, false, false, true, false,
-    true, true, false)), (String ((Ascii (false, true, true, true, false,
-    true, true, false)), (String ((Ascii (true, false, false, false, false,
-    true, true, false)), (String ((Ascii (false, false, true, false, true,
-    true, true, false)), (String ((Ascii (true, false, false, true, false,
-    true, true, false)), (String ((Ascii (true, true, true, true, false,
-    true, true, false)), (String ((Ascii (false, true, true, true, false,
-    true, true, false)), (String ((Ascii (true, true, false, false, false,
-    false, true, false)), (String ((Ascii (true, false, true, false, true,
-    true, true, false)), (String ((Ascii (false, true, false, false, true,
-    true, true, false)), (String ((Ascii (false, true, false, false, true,
-    true, true, false)), (String ((Ascii (true, false, true, false, false,
-    true, true, false)), (String ((Ascii (false, true, true, true, false,
-    true, true, false)), (String ((Ascii (true, true, false, false, false,
-    true, true, false)), (String ((Ascii (true, false, false, true, true,
-    true, true, false)), (String ((Ascii (true, true, false, false, false,
-    false, true, false)), (String ((Ascii (true, true, true, true, false,
-    true, true, false)), (String ((Ascii (false, false, true, false, false,
-    true, true, false)), (String ((Ascii (true, false, true, false, false,
-    true, true, false)),
-    EmptyString)))))))))))))))))))))))))))))))))))))))))))))))))))), (S (S (S
-    O))))) :: ((SStr ((String ((Ascii (true, false, true, false, false,
-    false, true, false)), (String ((Ascii (false, true, true, false, false,
-    true, true, false)), (String ((Ascii (false, true, true, false, false,
-    true, true, false)), (String ((Ascii (true, false, true, false, false,
-    true, true, false)), (String ((Ascii (true, true, false, false, false,
-    true, true, false)), (String ((Ascii (false, false, true, false, true,
-    true, true, false)), (String ((Ascii (true, false, false, true, false,
-    true, true, false)), (String ((Ascii (false, true, true, false, true,
-    true, true, false)), (String ((Ascii (true, false, true, false, false,
-    true, true, false)), (String ((Ascii (true, false, true, false, false,
-    false, true, false)), (String ((Ascii (false, true, true, true, false,
-    true, true, false)), (String ((Ascii (false, false, true, false, true,
-    true, true, false)), (String ((Ascii (false, true, false, false, true,
-    true, true, false)), (String ((Ascii (true, false, false, true, true,
-    true, true, false)), (String ((Ascii (false, false, true, false, false,
-    false, true, false)), (String ((Ascii (true, false, false, false, false,
-    true, true, false)), (String ((Ascii (false, false, true, false, true,
-    true, true, false)), (String ((Ascii (true, false, true, false, false,
-    true, true, false)), EmptyString)))))))))))))))))))))))))))))))))))), (S
-    (S (S (S (S (S O)))))))) :: ((SAlpha ((String ((Ascii (true, true, false,
-    false, true, false, true, false)), (String ((Ascii (true, false, true,
-    false, false, true, true, false)), (String ((Ascii (false, false, true,
-    false, true, true, true, false)), (String ((Ascii (false, false, true,
-    false, true, true, true, false)), (String ((Ascii (false, false, true,
-    true, false, true, true, false)), (String ((Ascii (true, false, true,
-    false, false, true, true, false)), (String ((Ascii (true, false, true,
-    true, false, true, true, false)), (String ((Ascii (true, false, true,
-    false, false, true, true, false)), (String ((Ascii (false, true, true,
-    true, false, true, true, false)), (String ((Ascii (false, false, true,
-    false, true, true, true, false)), (String ((Ascii (false, false, true,
-    false, false, false, true, false)), (String ((Ascii (true, false, false,
-    false, false, true, true, false)), (String ((Ascii (false, false, true,
-    false, true, true, true, false)), (String ((Ascii (true, false, true,
-    false, false, true, true, false)),
-    EmptyString)))))))))))))))))))))))))))), (S (S (S O))))) :: ((SItoa
-    (String ((Ascii (true, true, true, true, false, false, true, false)),
-    (String ((Ascii (false, true, false, false, true, true, true, false)),
-    (String ((Ascii (true, false, false, true, false, true, true, false)),
-    (String ((Ascii (true, true, true, false, false, true, true, false)),
-    (String ((Ascii (true, false, false, true, false, true, true, false)),
-    (String ((Ascii (false, true, true, true, false, true, true, false)),
-    (String ((Ascii (true, false, false, false, false, true, true, false)),
-    (String ((Ascii (false, false, true, false, true, true, true, false)),
-    (String ((Ascii (true, true, true, true, false, true, true, false)),
-    (String ((Ascii (false, true, false, false, true, true, true, false)),
-    (String ((Ascii (true, true, false, false, true, false, true, false)),
-    (String ((Ascii (false, false, true, false, true, true, true, false)),
-    (String ((Ascii (true, false, false, false, false, true, true, false)),
-    (String ((Ascii (false, false, true, false, true, true, true, false)),
-    (String ((Ascii (true, false, true, false, true, true, true, false)),
-    (String ((Ascii (true, true, false, false, true, true, true, false)),
-    (String ((Ascii (true, true, false, false, false, false, true, false)),
-    (String ((Ascii (true, true, true, true, false, true, true, false)),
-    (String ((Ascii (false, false, true, false, false, true, true, false)),
-    (String ((Ascii (true, false, true, false, false, true, true, false)),
-    EmptyString))))))))))))))))))))))))))))))))))))))))) :: ((SStr ((String
-    ((Ascii (true, true, true, true, false, false, true, false)), (String
-    ((Ascii (false, false, true, false, false, false, true, false)), (String
-    ((Ascii (false, true, true, false, false, false, true, false)), (String
-    ((Ascii (true, false, false, true, false, false, true, false)), (String
-    ((Ascii (true, false, false, true, false, false, true, false)), (String
-    ((Ascii (false, false, true, false, false, true, true, false)), (String
-    ((Ascii (true, false, true, false, false, true, true, false)), (String
-    ((Ascii (false, true, true, true, false, true, true, false)), (String
-    ((Ascii (false, false, true, false, true, true, true, false)), (String
-    ((Ascii (true, false, false, true, false, true, true, false)), (String
-    ((Ascii (false, true, true, false, false, true, true, false)), (String
-    ((Ascii (true, false, false, true, false, true, true, false)), (String
-    ((Ascii (true, true, false, false, false, true, true, false)), (String
-    ((Ascii (true, false, false, false, false, true, true, false)), (String
-    ((Ascii (false, false, true, false, true, true, true, false)), (String
-    ((Ascii (true, false, false, true, false, true, true, false)), (String
-    ((Ascii (true, true, true, true, false, true, true, false)), (String
-    ((Ascii (false, true, true, true, false, true, true, false)),
-    EmptyString)))))))))))))))))))))))))))))))))))), (S (S (S (S (S (S (S (S
-    O)))))))))) :: ((SNum ((String ((Ascii (false, true, false, false, false,
-    false, true, false)), (String ((Ascii (true, false, false, false, false,
-    true, true, false)), (String ((Ascii (false, false, true, false, true,
-    true, true, false)), (String ((Ascii (true, true, false, false, false,
-    true, true, false)), (String ((Ascii (false, false, false, true, false,
-    true, true, false)), (String ((Ascii (false, true, true, true, false,
-    false, true, false)), (String ((Ascii (true, false, true, false, true,
-    true, true, false)), (String ((Ascii (true, false, true, true, false,
-    true, true, false)), (String ((Ascii (false, true, false, false, false,
-    true, true, false)), (String ((Ascii (true, false, true, false, false,
-    true, true, false)), (String ((Ascii (false, true, false, false, true,
-    true, true, false)), EmptyString)))))))))))))))))))))), (S (S (S (S (S (S
-    (S O))))))))) :: []))))))))))))))))); l_cuts =
-    ((mkcut O (S O) EmptyString []) :: ((mkcut (S O) (S (S (S (S O))))
-                                          (String ((Ascii (true, true, false,
-                                          false, true, false, true, false)),
-                                          (String ((Ascii (true, false, true,
-                                          false, false, true, true, false)),
-                                          (String ((Ascii (false, true,
-                                          false, false, true, true, true,
-                                          false)), (String ((Ascii (false,
-                                          true, true, false, true, true,
-                                          true, false)), (String ((Ascii
-                                          (true, false, false, true, false,
-                                          true, true, false)), (String
-                                          ((Ascii (true, true, false, false,
-                                          false, true, true, false)), (String
-                                          ((Ascii (true, false, true, false,
-                                          false, true, true, false)), (String
-                                          ((Ascii (true, true, false, false,
-                                          false, false, true, false)),
-                                          (String ((Ascii (false, false,
-                                          true, true, false, true, true,
-                                          false)), (String ((Ascii (true,
-                                          false, false, false, false, true,
-                                          true, false)), (String ((Ascii
-                                          (true, true, false, false, true,
-                                          true, true, false)), (String
-                                          ((Ascii (true, true, false, false,
-                                          true, true, true, false)), (String
-                                          ((Ascii (true, true, false, false,
-                                          false, false, true, false)),
-                                          (String ((Ascii (true, true, true,
-                                          true, false, true, true, false)),
-                                          (String ((Ascii (false, false,
-                                          true, false, false, true, true,
-                                          false)), (String ((Ascii (true,
-                                          false, true, false, false, true,
-                                          true, false)),
-                                          EmptyString))))))))))))))))))))))))))))))))
-                                          ((String ((Ascii (false, false,
-                                          false, false, true, true, true,
-                                          false)), (String ((Ascii (true,
-                                          false, false, false, false, true,
-                                          true, false)), (String ((Ascii
-                                          (false, true, false, false, true,
-                                          true, true, false)), (String
-                                          ((Ascii (true, true, false, false,
-                                          true, true, true, false)), (String
-                                          ((Ascii (true, false, true, false,
-                                          false, true, true, false)), (String
-                                          ((Ascii (false, true, true, true,
-                                          false, false, true, false)),
-                                          (String ((Ascii (true, false, true,
-                                          false, true, true, true, false)),
-                                          (String ((Ascii (true, false, true,
-                                          true, false, true, true, false)),
-                                          (String ((Ascii (false, true, true,
-                                          false, false, false, true, false)),
-                                          (String ((Ascii (true, false,
-                                          false, true, false, true, true,
-                                          false)), (String ((Ascii (true,
-                                          false, true, false, false, true,
-                                          true, false)), (String ((Ascii
-                                          (false, false, true, true, false,
-                                          true, true, false)), (String
-                                          ((Ascii (false, false, true, false,
-                                          false, true, true, false)),
-                                          EmptyString)))))))))))))))))))))))))) :: [])) :: (
-    (mkcut (S (S (S (S O)))) (S (S (S (S (S (S (S (S (S (S (S (S (S (S (S (S
-      (S (S (S (S O)))))))))))))))))))) (String ((Ascii (true, false, false,
-      true, false, false, true, false)), (String ((Ascii (true, false, false,
-      false, false, false, true, false)), (String ((Ascii (false, false,
-      true, false, true, false, true, false)), (String ((Ascii (true, false,
-      false, true, false, false, true, false)), (String ((Ascii (false, true,
-      true, true, false, true, true, false)), (String ((Ascii (false, false,
-      true, false, false, true, true, false)), (String ((Ascii (true, false,
-      false, true, false, true, true, false)), (String ((Ascii (true, true,
-      false, false, false, true, true, false)), (String ((Ascii (true, false,
-      false, false, false, true, true, false)), (String ((Ascii (false,
-      false, true, false, true, true, true, false)), (String ((Ascii (true,
-      true, true, true, false, true, true, false)), (String ((Ascii (false,
-      true, false, false, true, true, true, false)),
-      EmptyString)))))))))))))))))))))))) ((String ((Ascii (false, false,
-      false, false, true, true, true, false)), (String ((Ascii (true, false,
-      false, false, false, true, true, false)), (String ((Ascii (false, true,
-      false, false, true, true, true, false)), (String ((Ascii (true, true,
-      false, false, true, true, true, false)), (String ((Ascii (true, false,
-      true, false, false, true, true, false)), (String ((Ascii (true, true,
-      false, false, true, false, true, false)), (String ((Ascii (false,
-      false, true, false, true, true, true, false)), (String ((Ascii (false,
-      true, false, false, true, true, true, false)), (String ((Ascii (true,
-      false, false, true, false, true, true, false)), (String ((Ascii (false,
-      true, true, true, false, true, true, false)), (String ((Ascii (true,
-      true, true, false, false, true, true, false)), (String ((Ascii (false,
-      true, true, false, false, false, true, false)), (String ((Ascii (true,
-      false, false, true, false, true, true, false)), (String ((Ascii (true,
-      false, true, false, false, true, true, false)), (String ((Ascii (false,
-      false, true, true, false, true, true, false)), (String ((Ascii (false,
-      false, true, false, false, true, true, false)),
-      EmptyString)))))))))))))))))))))))))))))))) :: [])) :: ((mkcut (S (S (S
-                                                                (S (S (S (S
-                                                                (S (S (S (S
-                                                                (S (S (S (S
-                                                                (S (S (S (S
-                                                                (S
-                                                                O))))))))))))))))))))
-                                                                (S (S (S (S
-                                                                (S (S (S (S
-                                                                (S (S (S (S
-                                                                (S (S (S (S
-                                                                (S (S (S (S
-                                                                (S (S
-                                                                O))))))))))))))))))))))
-                                                                (String
-                                                                ((Ascii
-                                                                (false, true,
-                                                                true, false,
-                                                                false, false,
-                                                                true,
-                                                                false)),
-                                                                (String
-                                                                ((Ascii
-                                                                (true, true,
-                                                                true, true,
-                                                                false, true,
-                                                                true,
-                                                                false)),
-                                                                (String
-                                                                ((Ascii
-                                                                (false, true,
-                                                                false, false,
-                                                                true, true,
-                                                                true,
-                                                                false)),
-                                                                (String
-                                                                ((Ascii
-                                                                (true, false,
-                                                                true, false,
-                                                                false, true,
-                                                                true,
-                                                                false)),
-                                                                (String
-                                                                ((Ascii
-                                                                (true, false,
-                                                                false, true,
-                                                                false, true,
-                                                                true,
-                                                                false)),
-                                                                (String
-                                                                ((Ascii
-                                                                (true, true,
-                                                                true, false,
-                                                                false, true,
-                                                                true,
-                                                                false)),
-                                                                (String
-                                                                ((Ascii
-                                                                (false, true,
-                                                                true, true,
-                                                                false, true,
-                                                                true,
-                                                                false)),
-                                                                (String
-                                                                ((Ascii
-                                                                (true, false,
-                                                                true, false,
-                                                                false, false,
-                                                                true,
-                                                                false)),
-                                                                (String
-                                                                ((Ascii
-                                                                (false,
-                                                                false, false,
-                                                                true, true,
-                                                                true, true,
-                                                                false)),
-                                                                (String
-                                                                ((Ascii
-                                                                (true, true,
-                                                                false, false,
-                                                                false, true,
-                                                                true,
-                                                                false)),
-                                                                (String
-                                                                ((Ascii
-                                                                (false,
-                                                                false, false,
-                                                                true, false,
-                                                                true, true,
-                                                                false)),
-                                                                (String
-                                                                ((Ascii
-                                                                (true, false,
-                                                                false, false,
-                                                                false, true,
-                                                                true,
-                                                                false)),
-                                                                (String
-                                                                ((Ascii
-                                                                (false, true,
-                                                                true, true,
-                                                                false, true,
-                                                                true,
-                                                                false)),
-                                                                (String
-                                                                ((Ascii
-                                                                (true, true,
-                                                                true, false,
-                                                                false, true,
-                                                                true,
-                                                                false)),
-                                                                (String
-                                                                ((Ascii
-                                                                (true, false,
-                                                                true, false,
-                                                                false, true,
-                                                                true,
-                                                                false)),
-                                                                (String
-                                                                ((Ascii
-                                                                (true, false,
-                                                                false, true,
-                                                                false, false,
-                                                                true,
-                                                                false)),
-                                                                (String
-                                                                ((Ascii
-                                                                (false, true,
-                                                                true, true,
-                                                                false, true,
-                                                                true,
-                                                                false)),
-                                                                (String
-                                                                ((Ascii
-                                                                (false,
-                                                                false, true,
-                                                                false, false,
-                                                                true, true,
-                                                                false)),
-                                                                (String
-                                                                ((Ascii
-                                                                (true, false,
-                                                                false, true,
-                                                                false, true,
-                                                                true,
-                                                                false)),
-                                                                (String
-                                                                ((Ascii
-                                                                (true, true,
-                                                                false, false,
-                                                                false, true,
-                                                                true,
-                                                                false)),
-                                                                (String
-                                                                ((Ascii
-                                                                (true, false,
-                                                                false, false,
-                                                                false, true,
-                                                                true,
-                                                                false)),
-                                                                (String
-                                                                ((Ascii
-                                                                (false,
-                                                                false, true,
-                                                                false, true,
-                                                                true, true,
-                                                                false)),
-                                                                (String
-                                                                ((Ascii
-                                                                (true, true,
-                                                                true, true,
-                                                                false, true,
-                                                                true,
-                                                                false)),
-                                                                (String
-                                                                ((Ascii
-                                                                (false, true,
-                                                                false, false,
-                                                                true, true,
-                                                                true,
-                                                                false)),
-                                                                EmptyString))))))))))))))))))))))))))))))))))))))))))))))))
-                                                                ((String
-                                                                ((Ascii
-                                                                (false,
-                                                                false, false,
-                                                                false, true,
-                                                                true, true,
-                                                                false)),
-                                                                (String
-                                                                ((Ascii
-                                                                (true, false,
-                                                                false, false,
-                                                                false, true,
-                                                                true,
-                                                                false)),
-                                                                (String
-                                                                ((Ascii
-                                                                (false, true,
-                                                                false, false,
-                                                                true, true,
-                                                                true,
-                                                                false)),
-                                                                (String
-                                                                ((Ascii
-                                                                (true, true,
-                                                                false, false,
-                                                                true, true,
-                                                                true,
-                                                                false)),
-                                                                (String
-                                                                ((Ascii
-                                                                (true, false,
-                                                                true, false,
-                                                                false, true,
-                                                                true,
-                                                                false)),
-                                                                (String
-                                                                ((Ascii
-                                                                (true, true,
-                                                                false, false,
-                                                                true, false,
-                                                                true,
-                                                                false)),
-                                                                (String
-                                                                ((Ascii
-                                                                (false,
-                                                                false, true,
-                                                                false, true,
-                                                                true, true,
-                                                                false)),
-                                                                (String
-                                                                ((Ascii
-                                                                (false, true,
-                                                                false, false,
-                                                                true, true,
-                                                                true,
-                                                                false)),
-                                                                (String
-                                                                ((Ascii
-                                                                (true, false,
-                                                                false, true,
-                                                                false, true,
-                                                                true,
-                                                                false)),
-                                                                (String
-                                                                ((Ascii
-                                                                (false, true,
-                                                                true, true,
-                                                                false, true,
-                                                                true,
-                                                                false)),
-                                                                (String
-                                                                ((Ascii
-                                                                (true, true,
-                                                                true, false,
-                                                                false, true,
-                                                                true,
-                                                                false)),
-                                                                (String
-                                                                ((Ascii
-                                                                (false, true,
-                                                                true, false,
-                                                                false, false,
-                                                                true,
-                                                                false)),
-                                                                (String
-                                                                ((Ascii
-                                                                (true, false,
-                                                                false, true,
-                                                                false, true,
-                                                                true,
-                                                                false)),
-                                                                (String
-                                                                ((Ascii
-                                                                (true, false,
-                                                                true, false,
-                                                                false, true,
-                                                                true,
-                                                                false)),
-                                                                (String
-                                                                ((Ascii
-                                                                (false,
-                                                                false, true,
-                                                                true, false,
-                                                                true, true,
-                                                                false)),
-                                                                (String
-                                                                ((Ascii
-                                                                (false,
-                                                                false, true,
-                                                                false, false,
-                                                                true, true,
-                                                                false)),
-                                                                EmptyString)))))))))))))))))))))))))))))))) :: [])) :: (
-    (mkcut (S (S (S (S (S (S (S (S (S (S (S (S (S (S (S (S (S (S (S (S (S (S
-      O)))))))))))))))))))))) (S (S (S (S (S (S (S (S (S (S (S (S (S (S (S (S
-      (S (S (S (S (S (S (S O))))))))))))))))))))))) (String ((Ascii (false,
-      true, true, false, false, false, true, false)), (String ((Ascii (true,
-      true, true, true, false, true, true, false)), (String ((Ascii (false,
-      true, false, false, true, true, true, false)), (String ((Ascii (true,
-      false, true, false, false, true, true, false)), (String ((Ascii (true,
-      false, false, true, false, true, true, false)), (String ((Ascii (true,
-      true, true, false, false, true, true, false)), (String ((Ascii (false,
-      true, true, true, false, true, true, false)), (String ((Ascii (true,
-      false, true, false, false, false, true, false)), (String ((Ascii
-      (false, false, false, true, true, true, true, false)), (String ((Ascii
-      (true, true, false, false, false, true, true, false)), (String ((Ascii
-      (false, false, false, true, false, true, true, false)), (String ((Ascii
-      (true, false, false, false, false, true, true, false)), (String ((Ascii
-      (false, true, true, true, false, true, true, false)), (String ((Ascii
-      (true, true, true, false, false, true, true, false)), (String ((Ascii
-      (true, false, true, false, false, true, true, false)), (String ((Ascii
-      (false, true, false, false, true, false, true, false)), (String ((Ascii
-      (true, false, true, false, false, true, true, false)), (String ((Ascii
-      (false, true, true, false, false, true, true, false)), (String ((Ascii
-      (true, false, true, false, false, true, true, false)), (String ((Ascii
-      (false, true, false, false, true, true, true, false)), (String ((Ascii
-      (true, false, true, false, false, true, true, false)), (String ((Ascii
-      (false, true, true, true, false, true, true, false)), (String ((Ascii
-      (true, true, false, false, false, true, true, false)), (String ((Ascii
-      (true, false, true, false, false, true, true, false)), (String ((Ascii
-      (true, false, false, true, false, false, true, false)), (String ((Ascii
-      (false, true, true, true, false, true, true, false)), (String ((Ascii
-      (false, false, true, false, false, true, true, false)), (String ((Ascii
-      (true, false, false, true, false, true, true, false)), (String ((Ascii
-      (true, true, false, false, false, true, true, false)), (String ((Ascii
-      (true, false, false, false, false, true, true, false)), (String ((Ascii
-      (false, false, true, false, true, true, true, false)), (String ((Ascii
-      (true, true, true, true, false, true, true, false)), (String ((Ascii
-      (false, true, false, false, true, true, true, false)),
-      EmptyString))))))))))))))))))))))))))))))))))))))))))))))))))))))))))))))))))
-      ((String ((Ascii (false, false, false, false, true, true, true,
-      false)), (String ((Ascii (true, false, false, false, false, true, true,
-      false)), (String ((Ascii (false, true, false, false, true, true, true,
-      false)), (String ((Ascii (true, true, false, false, true, true, true,
-      false)), (String ((Ascii (true, false, true, false, false, true, true,
-      false)), (String ((Ascii (false, true, true, true, false, false, true,
-      false)), (String ((Ascii (true, false, true, false, true, true, true,
-      false)), (String ((Ascii (true, false, true, true, false, true, true,
-      false)), (String ((Ascii (false, true, true, false, false, false, true,
-      false)), (String ((Ascii (true, false, false, true, false, true, true,
-      false)), (String ((Ascii (true, false, true, false, false, true, true,
-      false)), (String ((Ascii (false, false, true, true, false, true, true,
-      false)), (String ((Ascii (false, false, true, false, false, true, true,
-      false)), EmptyString)))))))))))))))))))))))))) :: [])) :: ((mkcut (S (S
-                                                                   (S (S (S
-                                                                   (S (S (S
-                                                                   (S (S (S
-                                                                   (S (S (S
-                                                                   (S (S (S
-                                                                   (S (S (S
-                                                                   (S (S (S
-                                                                   O)))))))))))))))))))))))
-                                                                   (S (S (S
-                                                                   (S (S (S
-                                                                   (S (S (S
-                                                                   (S (S (S
-                                                                   (S (S (S
-                                                                   (S (S (S
-                                                                   (S (S (S
-                                                                   (S (S (S
-                                                                   (S (S (S
-                                                                   (S (S (S
-                                                                   (S (S (S
-                                                                   (S (S (S
-                                                                   (S (S
-                                                                   O))))))))))))))))))))))))))))))))))))))
-                                                                   (String
-                                                                   ((Ascii
-                                                                   (false,
-                                                                   true,
-                                                                   true,
-                                                                   false,
-                                                                   false,
-                                                                   false,
-                                                                   true,
-                                                                   false)),
-                                                                   (String
-                                                                   ((Ascii
-                                                                   (true,
-                                                                   true,
-                                                                   true,
-                                                                   true,
-                                                                   false,
-                                                                   true,
-                                                                   true,
-                                                                   false)),
-                                                                   (String
-                                                                   ((Ascii
-                                                                   (false,
-                                                                   true,
-                                                                   false,
-                                                                   false,
-                                                                   true,
-                                                                   true,
-                                                                   true,
-                                                                   false)),
-                                                                   (String
-                                                                   ((Ascii
-                                                                   (true,
-                                                                   false,
-                                                                   true,
-                                                                   false,
-                                                                   false,
-                                                                   true,
-                                                                   true,
-                                                                   false)),
-                                                                   (String
-                                                                   ((Ascii
-                                                                   (true,
-                                                                   false,
-                                                                   false,
-                                                                   true,
-                                                                   false,
-                                                                   true,
-                                                                   true,
-                                                                   false)),
-                                                                   (String
-                                                                   ((Ascii
-                                                                   (true,
-                                                                   true,
-                                                                   true,
-                                                                   false,
-                                                                   false,
-                                                                   true,
-                                                                   true,
-                                                                   false)),
-                                                                   (String
-                                                                   ((Ascii
-                                                                   (false,
-                                                                   true,
-                                                                   true,
-                                                                   true,
-                                                                   false,
-                                                                   true,
-                                                                   true,
-                                                                   false)),
-                                                                   (String
-                                                                   ((Ascii
-                                                                   (true,
-                                                                   false,
-                                                                   true,
-                                                                   false,
-                                                                   false,
-                                                                   false,
-                                                                   true,
-                                                                   false)),
-                                                                   (String
-                                                                   ((Ascii
-                                                                   (false,
-                                                                   false,
-                                                                   false,
-                                                                   true,
-                                                                   true,
-                                                                   true,
-                                                                   true,
-                                                                   false)),
-                                                                   (String
-                                                                   ((Ascii
-                                                                   (true,
-                                                                   true,
-                                                                   false,
-                                                                   false,
-                                                                   false,
-                                                                   true,
-                                                                   true,
-                                                                   false)),
-                                                                   (String
-                                                                   ((Ascii
-                                                                   (false,
-                                                                   false,
-                                                                   false,
-                                                                   true,
-                                                                   false,
-                                                                   true,
-                                                                   true,
-                                                                   false)),
-                                                                   (String
-                                                                   ((Ascii
-                                                                   (true,
-                                                                   false,
-                                                                   false,
-                                                                   false,
-                                                                   false,
-                                                                   true,
-                                                                   true,
-                                                                   false)),
-                                                                   (String
-                                                                   ((Ascii
-                                                                   (false,
-                                                                   true,
-                                                                   true,
-                                                                   true,
-                                                                   false,
-                                                                   true,
-                                                                   true,
-                                                                   false)),
-                                                                   (String
-                                                                   ((Ascii
-                                                                   (true,
-                                                                   true,
-                                                                   true,
-                                                                   false,
-                                                                   false,
-                                                                   true,
-                                                                   true,
-                                                                   false)),
-                                                                   (String
-                                                                   ((Ascii
-                                                                   (true,
-                                                                   false,
-                                                                   true,
-                                                                   false,
-                                                                   false,
-                                                                   true,
-                                                                   true,
-                                                                   false)),
-                                                                   (String
-                                                                   ((Ascii
-                                                                   (false,
-                                                                   true,
-                                                                   false,
-                                                                   false,
-                                                                   true,
-                                                                   false,
-                                                                   true,
-                                                                   false)),
-                                                                   (String
-                                                                   ((Ascii
-                                                                   (true,
-                                                                   false,
-                                                                   true,
-                                                                   false,
-                                                                   false,
-                                                                   true,
-                                                                   true,
-                                                                   false)),
-                                                                   (String
-                                                                   ((Ascii
-                                                                   (false,
-                                                                   true,
-                                                                   true,
-                                                                   false,
-                                                                   false,
-                                                                   true,
-                                                                   true,
-                                                                   false)),
-                                                                   (String
-                                                                   ((Ascii
-                                                                   (true,
-                                                                   false,
-                                                                   true,
-                                                                   false,
-                                                                   false,
-                                                                   true,
-                                                                   true,
-                                                                   false)),
-                                                                   (String
-                                                                   ((Ascii
-                                                                   (false,
-                                                                   true,
-                                                                   false,
-                                                                   false,
-                                                                   true,
-                                                                   true,
-                                                                   true,
-                                                                   false)),
-                                                                   (String
-                                                                   ((Ascii
-                                                                   (true,
-                                                                   false,
-                                                                   true,
-                                                                   false,
-                                                                   false,
-                                                                   true,
-                                                                   true,
-                                                                   false)),
-                                                                   (String
-                                                                   ((Ascii
-                                                                   (false,
-                                                                   true,
-                                                                   true,
-                                                                   true,
-                                                                   false,
-                                                                   true,
-                                                                   true,
-                                                                   false)),
-                                                                   (String
-                                                                   ((Ascii
-                                                                   (true,
-                                                                   true,
-                                                                   false,
-                                                                   false,
-                                                                   false,
-                                                                   true,
-                                                                   true,
-                                                                   false)),
-                                                                   (String
-                                                                   ((Ascii
-                                                                   (true,
-                                                                   false,
-                                                                   true,
-                                                                   false,
-                                                                   false,
-                                                                   true,
-                                                                   true,
-                                                                   false)),
-                                                                   EmptyString))))))))))))))))))))))))))))))))))))))))))))))))
-                                                                   ((String
-                                                                   ((Ascii
-                                                                   (false,
-                                                                   false,
-                                                                   false,
-                                                                   false,
-                                                                   true,
-                                                                   true,
-                                                                   true,
-                                                                   false)),
-                                                                   (String
-                                                                   ((Ascii
-                                                                   (true,
-                                                                   false,
-                                                                   false,
-                                                                   false,
-                                                                   false,
-                                                                   true,
-                                                                   true,
-                                                                   false)),
-                                                                   (String
-                                                                   ((Ascii
-                                                                   (false,
-                                                                   true,
-                                                                   false,
-                                                                   false,
-                                                                   true,
-                                                                   true,
-                                                                   true,
-                                                                   false)),
-                                                                   (String
-                                                                   ((Ascii
-                                                                   (true,
-                                                                   true,
-                                                                   false,
-                                                                   false,
-                                                                   true,
-                                                                   true,
-                                                                   true,
-                                                                   false)),
-                                                                   (String
-                                                                   ((Ascii
-                                                                   (true,
-                                                                   false,
-                                                                   true,
-                                                                   false,
-                                                                   false,
-                                                                   true,
-                                                                   true,
-                                                                   false)),
-                                                                   (String
-                                                                   ((Ascii
-                                                                   (true,
-                                                                   true,
-                                                                   false,
-                                                                   false,
-                                                                   true,
-                                                                   false,
-                                                                   true,
-                                                                   false)),
-                                                                   (String
-                                                                   ((Ascii
-                                                                   (false,
-                                                                   false,
-                                                                   true,
-                                                                   false,
-                                                                   true,
-                                                                   true,
-                                                                   true,
-                                                                   false)),
-                                                                   (String
-                                                                   ((Ascii
-                                                                   (false,
-                                                                   true,
-                                                                   false,
-                                                                   false,
-                                                                   true,
-                                                                   true,
-                                                                   true,
-                                                                   false)),
-                                                                   (String
-                                                                   ((Ascii
-                                                                   (true,
-                                                                   false,
-                                                                   false,
-                                                                   true,
-                                                                   false,
-                                                                   true,
-                                                                   true,
-                                                                   false)),
-                                                                   (String
-                                                                   ((Ascii
-                                                                   (false,
-                                                                   true,
-                                                                   true,
-                                                                   true,
-                                                                   false,
-                                                                   true,
-                                                                   true,
-                                                                   false)),
-                                                                   (String
-                                                                   ((Ascii
-                                                                   (true,
-                                                                   true,
-                                                                   true,
-                                                                   false,
-                                                                   false,
-                                                                   true,
-                                                                   true,
-                                                                   false)),
-                                                                   (String
-                                                                   ((Ascii
-                                                                   (false,
-                                                                   true,
-                                                                   true,
-                                                                   false,
-                                                                   false,
-                                                                   false,
-                                                                   true,
-                                                                   false)),
-                                                                   (String
-                                                                   ((Ascii
-                                                                   (true,
-                                                                   false,
-                                                                   false,
-                                                                   true,
-                                                                   false,
-                                                                   true,
-                                                                   true,
-                                                                   false)),
-                                                                   (String
-                                                                   ((Ascii
-                                                                   (true,
-                                                                   false,
-                                                                   true,
-                                                                   false,
-                                                                   false,
-                                                                   true,
-                                                                   true,
-                                                                   false)),
-                                                                   (String
-                                                                   ((Ascii
-                                                                   (false,
-                                                                   false,
-                                                                   true,
-                                                                   true,
-                                                                   false,
-                                                                   true,
-                                                                   true,
-                                                                   false)),
-                                                                   (String
-                                                                   ((Ascii
-                                                                   (false,
-                                                                   false,
-                                                                   true,
-                                                                   false,
-                                                                   false,
-                                                                   true,
-                                                                   true,
-                                                                   false)),
-                                                                   EmptyString)))))))))))))))))))))))))))))))) :: [])) :: (
-    (mkcut (S (S (S (S (S (S (S (S (S (S (S (S (S (S (S (S (S (S (S (S (S (S
-      (S (S (S (S (S (S (S (S (S (S (S (S (S (S (S (S
-      O)))))))))))))))))))))))))))))))))))))) (S (S (S (S (S (S (S (S (S (S
-      (S (S (S (S (S (S (S (S (S (S (S (S (S (S (S (S (S (S (S (S (S (S (S (S
-      (S (S (S (S (S (S O)))))))))))))))))))))))))))))))))))))))) (String
-      ((Ascii (true, false, false, true, false, false, true, false)), (String
-      ((Ascii (true, true, false, false, true, false, true, false)), (String
-      ((Ascii (true, true, true, true, false, false, true, false)), (String
-      ((Ascii (false, false, true, false, false, false, true, false)),
-      (String ((Ascii (true, false, true, false, false, true, true, false)),
-      (String ((Ascii (true, true, false, false, true, true, true, false)),
-      (String ((Ascii (false, false, true, false, true, true, true, false)),
-      (String ((Ascii (true, false, false, true, false, true, true, false)),
-      (String ((Ascii (false, true, true, true, false, true, true, false)),
-      (String ((Ascii (true, false, false, false, false, true, true, false)),
-      (String ((Ascii (false, false, true, false, true, true, true, false)),
-      (String ((Ascii (true, false, false, true, false, true, true, false)),
-      (String ((Ascii (true, true, true, true, false, true, true, false)),
-      (String ((Ascii (false, true, true, true, false, true, true, false)),
-      (String ((Ascii (true, true, false, false, false, false, true, false)),
-      (String ((Ascii (true, true, true, true, false, true, true, false)),
-      (String ((Ascii (true, false, true, false, true, true, true, false)),
-      (String ((Ascii (false, true, true, true, false, true, true, false)),
-      (String ((Ascii (false, false, true, false, true, true, true, false)),
-      (String ((Ascii (false, true, false, false, true, true, true, false)),
-      (String ((Ascii (true, false, false, true, true, true, true, false)),
-      (String ((Ascii (true, true, false, false, false, false, true, false)),
-      (String ((Ascii (true, true, true, true, false, true, true, false)),
-      (String ((Ascii (false, false, true, false, false, true, true, false)),
-      (String ((Ascii (true, false, true, false, false, true, true, false)),
-      EmptyString)))))))))))))))))))))))))))))))))))))))))))))))))) ((String
-      ((Ascii (false, false, false, false, true, true, true, false)), (String
-      ((Ascii (true, false, false, false, false, true, true, false)), (String
-      ((Ascii (false, true, false, false, true, true, true, false)), (String
-      ((Ascii (true, true, false, false, true, true, true, false)), (String
-      ((Ascii (true, false, true, false, false, true, true, false)), (String
-      ((Ascii (true, true, false, false, true, false, true, false)), (String
-      ((Ascii (false, false, true, false, true, true, true, false)), (String
-      ((Ascii (false, true, false, false, true, true, true, false)), (String
-      ((Ascii (true, false, false, true, false, true, true, false)), (String
-      ((Ascii (false, true, true, true, false, true, true, false)), (String
-      ((Ascii (true, true, true, false, false, true, true, false)), (String
-      ((Ascii (false, true, true, false, false, false, true, false)), (String
-      ((Ascii (true, false, false, true, false, true, true, false)), (String
-      ((Ascii (true, false, true, false, false, true, true, false)), (String
-      ((Ascii (false, false, true, true, false, true, true, false)), (String
-      ((Ascii (false, false, true, false, false, true, true, false)),
-      EmptyString)))))))))))))))))))))))))))))))) :: [])) :: ((mkcut (S (S (S
-                                                                (S (S (S (S
-                                                                (S (S (S (S
-                                                                (S (S (S (S
-                                                                (S (S (S (S
-                                                                (S (S (S (S
-                                                                (S (S (S (S
-                                                                (S (S (S (S
-                                                                (S (S (S (S
-                                                                (S (S (S (S
-                                                                (S
-                                                                O))))))))))))))))))))))))))))))))))))))))
-                                                                (S (S (S (S
-                                                                (S (S (S (S
-                                                                (S (S (S (S
-                                                                (S (S (S (S
-                                                                (S (S (S (S
-                                                                (S (S (S (S
-                                                                (S (S (S (S
-                                                                (S (S (S (S
-                                                                (S (S (S (S
-                                                                (S (S (S (S
-                                                                (S (S (S (S
-                                                                (S (S (S (S
-                                                                (S (S
-                                                                O))))))))))))))))))))))))))))))))))))))))))))))))))
-                                                                (String
-                                                                ((Ascii
-                                                                (true, true,
-                                                                true, true,
-                                                                false, false,
-                                                                true,
-                                                                false)),
-                                                                (String
-                                                                ((Ascii
-                                                                (false, true,
-                                                                false, false,
-                                                                true, true,
-                                                                true,
-                                                                false)),
-                                                                (String
-                                                                ((Ascii
-                                                                (true, false,
-                                                                false, true,
-                                                                false, true,
-                                                                true,
-                                                                false)),
-                                                                (String
-                                                                ((Ascii
-                                                                (true, true,
-                                                                true, false,
-                                                                false, true,
-                                                                true,
-                                                                false)),
-                                                                (String
-                                                                ((Ascii
-                                                                (true, false,
-                                                                false, true,
-                                                                false, true,
-                                                                true,
-                                                                false)),
-                                                                (String
-                                                                ((Ascii
-                                                                (false, true,
-                                                                true, true,
-                                                                false, true,
-                                                                true,
-                                                                false)),
-                                                                (String
-                                                                ((Ascii
-                                                                (true, false,
-                                                                false, false,
-                                                                false, true,
-                                                                true,
-                                                                false)),
-                                                                (String
-                                                                ((Ascii
-                                                                (false,
-                                                                false, true,
-                                                                false, true,
-                                                                true, true,
-                                                                false)),
-                                                                (String
-                                                                ((Ascii
-                                                                (true, true,
-                                                                true, true,
-                                                                false, true,
-                                                                true,
-                                                                false)),
-                                                                (String
-                                                                ((Ascii
-                                                                (false, true,
-                                                                false, false,
-                                                                true, true,
-                                                                true,
-                                                                false)),
-                                                                (String
-                                                                ((Ascii
-                                                                (true, false,
-                                                                false, true,
-                                                                false, false,
-                                                                true,
-                                                                false)),
-                                                                (String
-                                                                ((Ascii
-                                                                (false,
-                                                                false, true,
-                                                                false, false,
-                                                                true, true,
-                                                                false)),
-                                                                (String
-                                                                ((Ascii
-                                                                (true, false,
-                                                                true, false,
-                                                                false, true,
-                                                                true,
-                                                                false)),
-                                                                (String
-                                                                ((Ascii
-                                                                (false, true,
-                                                                true, true,
-                                                                false, true,
-                                                                true,
-                                                                false)),
-                                                                (String
-                                                                ((Ascii
-                                                                (false,
-                                                                false, true,
-                                                                false, true,
-                                                                true, true,
-                                                                false)),
-                                                                (String
-                                                                ((Ascii
-                                                                (true, false,
-                                                                false, true,
-                                                                false, true,
-                                                                true,
-                                                                false)),
-                                                                (String
-                                                                ((Ascii
-                                                                (false, true,
-                                                                true, false,
-                                                                false, true,
-                                                                true,
-                                                                false)),
-                                                                (String
-                                                                ((Ascii
-                                                                (true, false,
-                                                                false, true,
-                                                                false, true,
-                                                                true,
-                                                                false)),
-                                                                (String
-                                                                ((Ascii
-                                                                (true, true,
-                                                                false, false,
-                                                                false, true,
-                                                                true,
-                                                                false)),
-                                                                (String
-                                                                ((Ascii
-                                                                (true, false,
-                                                                false, false,
-                                                                false, true,
-                                                                true,
-                                                                false)),
-                                                                (String
-                                                                ((Ascii
-                                                                (false,
-                                                                false, true,
-                                                                false, true,
-                                                                true, true,
-                                                                false)),
-                                                                (String
-                                                                ((Ascii
-                                                                (true, false,
-                                                                false, true,
-                                                                false, true,
-                                                                true,
-                                                                false)),
-                                                                (String
-                                                                ((Ascii
-                                                                (true, true,
-                                                                true, true,
-                                                                false, true,
-                                                                true,
-                                                                false)),
-                                                                (String
-                                                                ((Ascii
-                                                                (false, true,
-                                                                true, true,
-                                                                false, true,
-                                                                true,
-                                                                false)),
-                                                                EmptyString))))))))))))))))))))))))))))))))))))))))))))))))
-                                                                ((String
-                                                                ((Ascii
-                                                                (false,
-                                                                false, false,
-                                                                false, true,
-                                                                true, true,
-                                                                false)),
-                                                                (String
-                                                                ((Ascii
-                                                                (true, false,
-                                                                false, false,
-                                                                false, true,
-                                                                true,
-                                                                false)),
-                                                                (String
-                                                                ((Ascii
-                                                                (false, true,
-                                                                false, false,
-                                                                true, true,
-                                                                true,
-                                                                false)),
-                                                                (String
-                                                                ((Ascii
-                                                                (true, true,
-                                                                false, false,
-                                                                true, true,
-                                                                true,
-                                                                false)),
-                                                                (String
-                                                                ((Ascii
-                                                                (true, false,
-                                                                true, false,
-                                                                false, true,
-                                                                true,
-                                                                false)),
-                                                                (String
-                                                                ((Ascii
-                                                                (true, true,
-                                                                false, false,
-                                                                true, false,
-                                                                true,
-                                                                false)),
-                                                                (String
-                                                                ((Ascii
-                                                                (false,
-                                                                false, true,
-                                                                false, true,
-                                                                true, true,
-                                                                false)),
-                                                                (String
-                                                                ((Ascii
-                                                                (false, true,
-                                                                false, false,
-                                                                true, true,
-                                                                true,
-                                                                false)),
-                                                                (String
-                                                                ((Ascii
-                                                                (true, false,
-                                                                false, true,
-                                                                false, true,
-                                                                true,
-                                                                false)),
-                                                                (String
-                                                                ((Ascii
-                                                                (false, true,
-                                                                true, true,
-                                                                false, true,
-                                                                true,
-                                                                false)),
-                                                                (String
-                                                                ((Ascii
-                                                                (true, true,
-                                                                true, false,
-                                                                false, true,
-                                                                true,
-                                                                false)),
-                                                                (String
-                                                                ((Ascii
-                                                                (false, true,
-                                                                true, false,
-                                                                false, false,
-                                                                true,
-                                                                false)),
-                                                                (String
-                                                                ((Ascii
-                                                                (true, false,
-                                                                false, true,
-                                                                false, true,
-                                                                true,
-                                                                false)),
-                                                                (String
-                                                                ((Ascii
-                                                                (true, false,
-                                                                true, false,
-                                                                false, true,
-                                                                true,
-                                                                false)),
-                                                                (String
-                                                                ((Ascii
-                                                                (false,
-                                                                false, true,
-                                                                true, false,
-                                                                true, true,
-                                                                false)),
-                                                                (String
-                                                                ((Ascii
-                                                                (false,
-                                                                false, true,
-                                                                false, false,
-                                                                true, true,
-                                                                false)),
-                                                                EmptyString)))))))))))))))))))))))))))))))) :: [])) :: (
-    (mkcut (S (S (S (S (S (S (S (S (S (S (S (S (S (S (S (S (S (S (S (S (S (S
-      (S (S (S (S (S (S (S (S (S (S (S (S (S (S (S (S (S (S (S (S (S (S (S (S
-      (S (S (S (S O)))))))))))))))))))))))))))))))))))))))))))))))))) (S (S
-      (S (S (S (S (S (S (S (S (S (S (S (S (S (S (S (S (S (S (S (S (S (S (S (S
-      (S (S (S (S (S (S (S (S (S (S (S (S (S (S (S (S (S (S (S (S (S (S (S (S
-      (S (S (S O))))))))))))))))))))))))))))))))))))))))))))))))))))) (String
-      ((Ascii (true, true, false, false, true, false, true, false)), (String
-      ((Ascii (false, false, true, false, true, true, true, false)), (String
-      ((Ascii (true, false, false, false, false, true, true, false)), (String
-      ((Ascii (false, true, true, true, false, true, true, false)), (String
-      ((Ascii (false, false, true, false, false, true, true, false)), (String
-      ((Ascii (true, false, false, false, false, true, true, false)), (String
-      ((Ascii (false, true, false, false, true, true, true, false)), (String
-      ((Ascii (false, false, true, false, false, true, true, false)), (String
-      ((Ascii (true, false, true, false, false, false, true, false)), (String
-      ((Ascii (false, true, true, true, false, true, true, false)), (String
-      ((Ascii (false, false, true, false, true, true, true, false)), (String
-      ((Ascii (false, true, false, false, true, true, true, false)), (String
-      ((Ascii (true, false, false, true, true, true, true, false)), (String
-      ((Ascii (true, true, false, false, false, false, true, false)), (String
-      ((Ascii (false, false, true, true, false, true, true, false)), (String
-      ((Ascii (true, false, false, false, false, true, true, false)), (String
-      ((Ascii (true, true, false, false, true, true, true, false)), (String
-      ((Ascii (true, true, false, false, true, true, true, false)), (String
-      ((Ascii (true, true, false, false, false, false, true, false)), (String
-      ((Ascii (true, true, true, true, false, true, true, false)), (String
-      ((Ascii (false, false, true, false, false, true, true, false)), (String
-      ((Ascii (true, false, true, false, false, true, true, false)),
-      EmptyString)))))))))))))))))))))))))))))))))))))))))))) []) :: (
-    (mkcut (S (S (S (S (S (S (S (S (S (S (S (S (S (S (S (S (S (S (S (S (S (S
-      (S (S (S (S (S (S (S (S (S (S (S (S (S (S (S (S (S (S (S (S (S (S (S (S
-      (S (S (S (S (S (S (S
-      O))))))))))))))))))))))))))))))))))))))))))))))))))))) (S (S (S (S (S
-      (S (S (S (S (S (S (S (S (S (S (S (S (S (S (S (S (S (S (S (S (S (S (S (S
-      (S (S (S (S (S (S (S (S (S (S (S (S (S (S (S (S (S (S (S (S (S (S (S (S
-      (S (S (S (S (S (S (S (S (S (S
-      O)))))))))))))))))))))))))))))))))))))))))))))))))))))))))))))))
-      (String ((Ascii (true, true, false, false, false, false, true, false)),
-      (String ((Ascii (true, true, true, true, false, true, true, false)),
-      (String ((Ascii (true, false, true, true, false, true, true, false)),
-      (String ((Ascii (false, false, false, false, true, true, true, false)),
-      (String ((Ascii (true, false, false, false, false, true, true, false)),
-      (String ((Ascii (false, true, true, true, false, true, true, false)),
-      (String ((Ascii (true, false, false, true, true, true, true, false)),
-      (String ((Ascii (true, false, true, false, false, false, true, false)),
-      (String ((Ascii (false, true, true, true, false, true, true, false)),
-      (String ((Ascii (false, false, true, false, true, true, true, false)),
-      (String ((Ascii (false, true, false, false, true, true, true, false)),
-      (String ((Ascii (true, false, false, true, true, true, true, false)),
-      (String ((Ascii (false, false, true, false, false, false, true,
-      false)), (String ((Ascii (true, false, true, false, false, true, true,
-      false)), (String ((Ascii (true, true, false, false, true, true, true,
-      false)), (String ((Ascii (true, true, false, false, false, true, true,
-      false)), (String ((Ascii (false, true, false, false, true, true, true,
-      false)), (String ((Ascii (true, false, false, true, false, true, true,
-      false)), (String ((Ascii (false, false, false, false, true, true, true,
-      false)), (String ((Ascii (false, false, true, false, true, true, true,
-      false)), (String ((Ascii (true, false, false, true, false, true, true,
-      false)), (String ((Ascii (true, true, true, true, false, true, true,
-      false)), (String ((Ascii (false, true, true, true, false, true, true,
-      false)), EmptyString))))))))))))))))))))))))))))))))))))))))))))))
-      ((String ((Ascii (true, true, false, false, true, true, true, false)),
-      (String ((Ascii (false, false, true, false, true, true, true, false)),
-      (String ((Ascii (false, true, false, false, true, true, true, false)),
-      (String ((Ascii (true, false, false, true, false, true, true, false)),
-      (String ((Ascii (false, true, true, true, false, true, true, false)),
-      (String ((Ascii (true, true, true, false, false, true, true, false)),
-      (String ((Ascii (true, true, false, false, true, true, true, false)),
-      (String ((Ascii (false, true, true, true, false, true, false, false)),
-      (String ((Ascii (false, false, true, false, true, false, true, false)),
-      (String ((Ascii (false, true, false, false, true, true, true, false)),
-      (String ((Ascii (true, false, false, true, false, true, true, false)),
-      (String ((Ascii (true, false, true, true, false, true, true, false)),
-      (String ((Ascii (true, true, false, false, true, false, true, false)),
-      (String ((Ascii (false, false, false, false, true, true, true, false)),
-      (String ((Ascii (true, false, false, false, false, true, true, false)),
-      (String ((Ascii (true, true, false, false, false, true, true, false)),
-      (String ((Ascii (true, false, true, false, false, true, true, false)),
-      EmptyString)))))))))))))))))))))))))))))))))) :: [])) :: ((mkcut (S (S
-                                                                  (S (S (S (S
-                                                                  (S (S (S (S
-                                                                  (S (S (S (S
-                                                                  (S (S (S (S
-                                                                  (S (S (S (S
-                                                                  (S (S (S (S
-                                                                  (S (S (S (S
-                                                                  (S (S (S (S
-                                                                  (S (S (S (S
-                                                                  (S (S (S (S
-                                                                  (S (S (S (S
-                                                                  (S (S (S (S
-                                                                  (S (S (S (S
-                                                                  (S (S (S (S
-                                                                  (S (S (S (S
-                                                                  (S
-                                                                  O)))))))))))))))))))))))))))))))))))))))))))))))))))))))))))))))
-                                                                  (S (S (S (S
-                                                                  (S (S (S (S
-                                                                  (S (S (S (S
-                                                                  (S (S (S (S
-                                                                  (S (S (S (S
-                                                                  (S (S (S (S
-                                                                  (S (S (S (S
-                                                                  (S (S (S (S
-                                                                  (S (S (S (S
-                                                                  (S (S (S (S
-                                                                  (S (S (S (S
-                                                                  (S (S (S (S
-                                                                  (S (S (S (S
-                                                                  (S (S (S (S
-                                                                  (S (S (S (S
-                                                                  (S (S (S (S
-                                                                  (S (S
-                                                                  O))))))))))))))))))))))))))))))))))))))))))))))))))))))))))))))))))
-                                                                  (String
-                                                                  ((Ascii
-                                                                  (true,
-                                                                  false,
-                                                                  false,
-                                                                  true,
-                                                                  false,
-                                                                  false,
-                                                                  true,
-                                                                  false)),
-                                                                  (String
-                                                                  ((Ascii
-                                                                  (true,
-                                                                  true,
-                                                                  false,
-                                                                  false,
-                                                                  true,
-                                                                  false,
-                                                                  true,
-                                                                  false)),
-                                                                  (String
-                                                                  ((Ascii
-                                                                  (true,
-                                                                  true, true,
-                                                                  true,
-                                                                  false,
-                                                                  false,
-                                                                  true,
-                                                                  false)),
-                                                                  (String
-                                                                  ((Ascii
-                                                                  (true,
-                                                                  true, true,
-                                                                  true,
-                                                                  false,
-                                                                  false,
-                                                                  true,
-                                                                  false)),
-                                                                  (String
-                                                                  ((Ascii
-                                                                  (false,
-                                                                  true,
-                                                                  false,
-                                                                  false,
-                                                                  true, true,
-                                                                  true,
-                                                                  false)),
-                                                                  (String
-                                                                  ((Ascii
-                                                                  (true,
-                                                                  false,
-                                                                  false,
-                                                                  true,
-                                                                  false,
-                                                                  true, true,
-                                                                  false)),
-                                                                  (String
-                                                                  ((Ascii
-                                                                  (true,
-                                                                  true, true,
-                                                                  false,
-                                                                  false,
-                                                                  true, true,
-                                                                  false)),
-                                                                  (String
-                                                                  ((Ascii
-                                                                  (true,
-                                                                  false,
-                                                                  false,
-                                                                  true,
-                                                                  false,
-                                                                  true, true,
-                                                                  false)),
-                                                                  (String
-                                                                  ((Ascii
-                                                                  (false,
-                                                                  true, true,
-                                                                  true,
-                                                                  false,
-                                                                  true, true,
-                                                                  false)),
-                                                                  (String
-                                                                  ((Ascii
-                                                                  (true,
-                                                                  false,
-                                                                  false,
-                                                                  false,
-                                                                  false,
-                                                                  true, true,
-                                                                  false)),
-                                                                  (String
-                                                                  ((Ascii
-                                                                  (false,
-                                                                  false,
-                                                                  true,
-                                                                  false,
-                                                                  true, true,
-                                                                  true,
-                                                                  false)),
-                                                                  (String
-                                                                  ((Ascii
-                                                                  (true,
-                                                                  false,
-                                                                  false,
-                                                                  true,
-                                                                  false,
-                                                                  true, true,
-                                                                  false)),
-                                                                  (String
-                                                                  ((Ascii
-                                                                  (false,
-                                                                  true, true,
-                                                                  true,
-                                                                  false,
-                                                                  true, true,
-                                                                  false)),
-                                                                  (String
-                                                                  ((Ascii
-                                                                  (true,
-                                                                  true, true,
-                                                                  false,
-                                                                  false,
-                                                                  true, true,
-                                                                  false)),
-                                                                  (String
-                                                                  ((Ascii
-                                                                  (true,
-                                                                  true,
-                                                                  false,
-                                                                  false,
-                                                                  false,
-                                                                  false,
-                                                                  true,
-                                                                  false)),
-                                                                  (String
-                                                                  ((Ascii
-                                                                  (true,
-                                                                  false,
-                                                                  true,
-                                                                  false,
-                                                                  true, true,
-                                                                  true,
-                                                                  false)),
-                                                                  (String
-                                                                  ((Ascii
-                                                                  (false,
-                                                                  true,
-                                                                  false,
-                                                                  false,
-                                                                  true, true,
-                                                                  true,
-                                                                  false)),
-                                                                  (String
-                                                                  ((Ascii
-                                                                  (false,
-                                                                  true,
-                                                                  false,
-                                                                  false,
-                                                                  true, true,
-                                                                  true,
-                                                                  false)),
-                                                                  (String
-                                                                  ((Ascii
-                                                                  (true,
-                                                                  false,
-                                                                  true,
-                                                                  false,
-                                                                  false,
-                                                                  true, true,
-                                                                  false)),
-                                                                  (String
-                                                                  ((Ascii
-                                                                  (false,
-                                                                  true, true,
-                                                                  true,
-                                                                  false,
-                                                                  true, true,
-                                                                  false)),
-                                                                  (String
-                                                                  ((Ascii
-                                                                  (true,
-                                                                  true,
-                                                                  false,
-                                                                  false,
-                                                                  false,
-                                                                  true, true,
-                                                                  false)),
-                                                                  (String
-                                                                  ((Ascii
-                                                                  (true,
-                                                                  false,
-                                                                  false,
-                                                                  true, true,
-                                                                  true, true,
-                                                                  false)),
-                                                                  (String
-                                                                  ((Ascii
-                                                                  (true,
-                                                                  true,
-                                                                  false,
-                                                                  false,
-                                                                  false,
-                                                                  false,
-                                                                  true,
-                                                                  false)),
-                                                                  (String
-                                                                  ((Ascii
-                                                                  (true,
-                                                                  true, true,
-                                                                  true,
-                                                                  false,
-                                                                  true, true,
-                                                                  false)),
-                                                                  (String
-                                                                  ((Ascii
-                                                                  (false,
-                                                                  false,
-                                                                  true,
-                                                                  false,
-                                                                  false,
-                                                                  true, true,
-                                                                  false)),
-                                                                  (String
-                                                                  ((Ascii
-                                                                  (true,
-                                                                  false,
-                                                                  true,
-                                                                  false,
-                                                                  false,
-                                                                  true, true,
-                                                                  false)),
-                                                                  EmptyString))))))))))))))))))))))))))))))))))))))))))))))))))))
-                                                                  ((String
-                                                                  ((Ascii
-                                                                  (false,
-                                                                  false,
-                                                                  false,
-                                                                  false,
-                                                                  true, true,
-                                                                  true,
-                                                                  false)),
-                                                                  (String
-                                                                  ((Ascii
-                                                                  (true,
-                                                                  false,
-                                                                  false,
-                                                                  false,
-                                                                  false,
-                                                                  true, true,
-                                                                  false)),
-                                                                  (String
-                                                                  ((Ascii
-                                                                  (false,
-                                                                  true,
-                                                                  false,
-                                                                  false,
-                                                                  true, true,
-                                                                  true,
-                                                                  false)),
-                                                                  (String
-                                                                  ((Ascii
-                                                                  (true,
-                                                                  true,
-                                                                  false,
-                                                                  false,
-                                                                  true, true,
-                                                                  true,
-                                                                  false)),
-                                                                  (String
-                                                                  ((Ascii
-                                                                  (true,
-                                                                  false,
-                                                                  true,
-                                                                  false,
-                                                                  false,
-                                                                  true, true,
-                                                                  false)),
-                                                                  (String
-                                                                  ((Ascii
-                                                                  (true,
-                                                                  true,
-                                                                  false,
-                                                                  false,
-                                                                  true,
-                                                                  false,
-                                                                  true,
-                                                                  false)),
-                                                                  (String
-                                                                  ((Ascii
-                                                                  (false,
-                                                                  false,
-                                                                  true,
-                                                                  false,
-                                                                  true, true,
-                                                                  true,
-                                                                  false)),
-                                                                  (String
-                                                                  ((Ascii
-                                                                  (false,
-                                                                  true,
-                                                                  false,
-                                                                  false,
-                                                                  true, true,
-                                                                  true,
-                                                                  false)),
-                                                                  (String
-                                                                  ((Ascii
-                                                                  (true,
-                                                                  false,
-                                                                  false,
-                                                                  true,
-                                                                  false,
-                                                                  true, true,
-                                                                  false)),
-                                                                  (String
-                                                                  ((Ascii
-                                                                  (false,
-                                                                  true, true,
-                                                                  true,
-                                                                  false,
-                                                                  true, true,
-                                                                  false)),
-                                                                  (String
-                                                                  ((Ascii
-                                                                  (true,
-                                                                  true, true,
-                                                                  false,
-                                                                  false,
-                                                                  true, true,
-                                                                  false)),
-                                                                  (String
-                                                                  ((Ascii
-                                                                  (false,
-                                                                  true, true,
-                                                                  false,
-                                                                  false,
-                                                                  false,
-                                                                  true,
-                                                                  false)),
-                                                                  (String
-                                                                  ((Ascii
-                                                                  (true,
-                                                                  false,
-                                                                  false,
-                                                                  true,
-                                                                  false,
-                                                                  true, true,
-                                                                  false)),
-                                                                  (String
-                                                                  ((Ascii
-                                                                  (true,
-                                                                  false,
-                                                                  true,
-                                                                  false,
-                                                                  false,
-                                                                  true, true,
-                                                                  false)),
-                                                                  (String
-                                                                  ((Ascii
-                                                                  (false,
-                                                                  false,
-                                                                  true, true,
-                                                                  false,
-                                                                  true, true,
-                                                                  false)),
-                                                                  (String
-                                                                  ((Ascii
-                                                                  (false,
-                                                                  false,
-                                                                  true,
-                                                                  false,
-                                                                  false,
-                                                                  true, true,
-                                                                  false)),
-                                                                  EmptyString)))))))))))))))))))))))))))))))) :: [])) :: (
-    (mkcut (S (S (S (S (S (S (S (S (S (S (S (S (S (S (S (S (S (S (S (S (S (S
-      (S (S (S (S (S (S (S (S (S (S (S (S (S (S (S (S (S (S (S (S (S (S (S (S
-      (S (S (S (S (S (S (S (S (S (S (S (S (S (S (S (S (S (S (S (S
-      O)))))))))))))))))))))))))))))))))))))))))))))))))))))))))))))))))) (S
-      (S (S (S (S (S (S (S (S (S (S (S (S (S (S (S (S (S (S (S (S (S (S (S (S
-      (S (S (S (S (S (S (S (S (S (S (S (S (S (S (S (S (S (S (S (S (S (S (S (S
-      (S (S (S (S (S (S (S (S (S (S (S (S (S (S (S (S (S (S (S (S
-      O)))))))))))))))))))))))))))))))))))))))))))))))))))))))))))))))))))))
-      (String ((Ascii (true, false, false, true, false, false, true, false)),
-      (String ((Ascii (true, true, false, false, true, false, true, false)),
-      (String ((Ascii (true, true, true, true, false, false, true, false)),
-      (String ((Ascii (false, false, true, false, false, false, true,
-      false)), (String ((Ascii (true, false, true, false, false, true, true,
-      false)), (String ((Ascii (true, true, false, false, true, true, true,
-      false)), (String ((Ascii (false, false, true, false, true, true, true,
-      false)), (String ((Ascii (true, false, false, true, false, true, true,
-      false)), (String ((Ascii (false, true, true, true, false, true, true,
-      false)), (String ((Ascii (true, false, false, false, false, true, true,
-      false)), (String ((Ascii (false, false, true, false, true, true, true,
-      false)), (String ((Ascii (true, false, false, true, false, true, true,
-      false)), (String ((Ascii (true, true, true, true, false, true, true,
-      false)), (String ((Ascii (false, true, true, true, false, true, true,
-      false)), (String ((Ascii (true, true, false, false, false, false, true,
-      false)), (String ((Ascii (true, false, true, false, true, true, true,
-      false)), (String ((Ascii (false, true, false, false, true, true, true,
-      false)), (String ((Ascii (false, true, false, false, true, true, true,
-      false)), (String ((Ascii (true, false, true, false, false, true, true,
-      false)), (String ((Ascii (false, true, true, true, false, true, true,
-      false)), (String ((Ascii (true, true, false, false, false, true, true,
-      false)), (String ((Ascii (true, false, false, true, true, true, true,
-      false)), (String ((Ascii (true, true, false, false, false, false, true,
-      false)), (String ((Ascii (true, true, true, true, false, true, true,
-      false)), (String ((Ascii (false, false, true, false, false, true, true,
-      false)), (String ((Ascii (true, false, true, false, false, true, true,
-      false)),
-      EmptyString))))))))))))))))))))))))))))))))))))))))))))))))))))
-      ((String ((Ascii (false, false, false, false, true, true, true,
-      false)), (String ((Ascii (true, false, false, false, false, true, true,
-      false)), (String ((Ascii (false, true, false, false, true, true, true,
-      false)), (String ((Ascii (true, true, false, false, true, true, true,
-      false)), (String ((Ascii (true, false, true, false, false, true, true,
-      false)), (String ((Ascii (true, true, false, false, true, false, true,
-      false)), (String ((Ascii (false, false, true, false, true, true, true,
-      false)), (String ((Ascii (false, true, false, false, true, true, true,
-      false)), (String ((Ascii (true, false, false, true, false, true, true,
-      false)), (String ((Ascii (false, true, true, true, false, true, true,
-      false)), (String ((Ascii (true, true, true, false, false, true, true,
-      false)), (String ((Ascii (false, true, true, false, false, false, true,
-      false)), (String ((Ascii (true, false, false, true, false, true, true,
-      false)), (String ((Ascii (true, false, true, false, false, true, true,
-      false)), (String ((Ascii (false, false, true, true, false, true, true,
-      false)), (String ((Ascii (false, false, true, false, false, true, true,
-      false)), EmptyString)))))))))))))))))))))))))))))))) :: [])) :: (
-    (mkcut (S (S (S (S (S (S (S (S (S (S (S (S (S (S (S (S (S (S (S (S (S (S
-      (S (S (S (S (S (S (S (S (S (S (S (S (S (S (S (S (S (S (S (S (S (S (S (S
-      (S (S (S (S (S (S (S (S (S (S (S (S (S (S (S (S (S (S (S (S (S (S (S
-      O)))))))))))))))))))))))))))))))))))))))))))))))))))))))))))))))))))))
-      (S (S (S (S (S (S (S (S (S (S (S (S (S (S (S (S (S (S (S (S (S (S (S (S
-      (S (S (S (S (S (S (S (S (S (S (S (S (S (S (S (S (S (S (S (S (S (S (S (S
-      (S (S (S (S (S (S (S (S (S (S (S (S (S (S (S (S (S (S (S (S (S (S (S (S
-      (S (S (S
-      O)))))))))))))))))))))))))))))))))))))))))))))))))))))))))))))))))))))))))))
-      (String ((Ascii (true, false, true, false, false, false, true, false)),
-      (String ((Ascii (false, true, true, false, false, true, true, false)),
-      (String ((Ascii (false, true, true, false, false, true, true, false)),
-      (String ((Ascii (true, false, true, false, false, true, true, false)),
-      (String ((Ascii (true, true, false, false, false, true, true, false)),
-      (String ((Ascii (false, false, true, false, true, true, true, false)),
-      (String ((Ascii (true, false, false, true, false, true, true, false)),
-      (String ((Ascii (false, true, true, false, true, true, true, false)),
-      (String ((Ascii (true, false, true, false, false, true, true, false)),
-      (String ((Ascii (true, false, true, false, false, false, true, false)),
-      (String ((Ascii (false, true, true, true, false, true, true, false)),
-      (String ((Ascii (false, false, true, false, true, true, true, false)),
-      (String ((Ascii (false, true, false, false, true, true, true, false)),
-      (String ((Ascii (true, false, false, true, true, true, true, false)),
-      (String ((Ascii (false, false, true, false, false, false, true,
-      false)), (String ((Ascii (true, false, false, false, false, true, true,
-      false)), (String ((Ascii (false, false, true, false, true, true, true,
-      false)), (String ((Ascii (true, false, true, false, false, true, true,
-      false)), EmptyString)))))))))))))))))))))))))))))))))))) ((String
-      ((Ascii (false, true, true, false, true, true, true, false)), (String
-      ((Ascii (true, false, false, false, false, true, true, false)), (String
-      ((Ascii (false, false, true, true, false, true, true, false)), (String
-      ((Ascii (true, false, false, true, false, true, true, false)), (String
-      ((Ascii (false, false, true, false, false, true, true, false)), (String
-      ((Ascii (true, false, false, false, false, true, true, false)), (String
-      ((Ascii (false, false, true, false, true, true, true, false)), (String
-      ((Ascii (true, false, true, false, false, true, true, false)), (String
-      ((Ascii (true, true, false, false, true, false, true, false)), (String
-      ((Ascii (true, false, false, true, false, true, true, false)), (String
-      ((Ascii (true, false, true, true, false, true, true, false)), (String
-      ((Ascii (false, false, false, false, true, true, true, false)), (String
-      ((Ascii (false, false, true, true, false, true, true, false)), (String
-      ((Ascii (true, false, true, false, false, true, true, false)), (String
-      ((Ascii (false, false, true, false, false, false, true, false)),
-      (String ((Ascii (true, false, false, false, false, true, true, false)),
-      (String ((Ascii (false, false, true, false, true, true, true, false)),
-      (String ((Ascii (true, false, true, false, false, true, true, false)),
-      EmptyString)))))))))))))))))))))))))))))))))))) :: [])) :: ((mkcut (S
-                                                                    (S (S (S
-                                                                    (S (S (S
-                                                                    (S (S (S
-                                                                    (S (S (S
-                                                                    (S (S (S
-                                                                    (S (S (S
-                                                                    (S (S (S
-                                                                    (S (S (S
-                                                                    (S (S (S
-                                                                    (S (S (S
-                                                                    (S (S (S
-                                                                    (S (S (S
-                                                                    (S (S (S
-                                                                    (S (S (S
-                                                                    (S (S (S
-                                                                    (S (S (S
-                                                                    (S (S (S
-                                                                    (S (S (S
-                                                                    (S (S (S
-                                                                    (S (S (S
-                                                                    (S (S (S
-                                                                    (S (S (S
-                                                                    (S (S (S
-                                                                    (S (S (S
-                                                                    (S (S
-                                                                    O)))))))))))))))))))))))))))))))))))))))))))))))))))))))))))))))))))))))))))
-                                                                    (S (S (S
-                                                                    (S (S (S
-                                                                    (S (S (S
-                                                                    (S (S (S
-                                                                    (S (S (S
-                                                                    (S (S (S
-                                                                    (S (S (S
-                                                                    (S (S (S
-                                                                    (S (S (S
-                                                                    (S (S (S
-                                                                    (S (S (S
-                                                                    (S (S (S
-                                                                    (S (S (S
-                                                                    (S (S (S
-                                                                    (S (S (S
-                                                                    (S (S (S
-                                                                    (S (S (S
-                                                                    (S (S (S
-                                                                    (S (S (S
-                                                                    (S (S (S
-                                                                    (S (S (S
-                                                                    (S (S (S
-                                                                    (S (S (S
-                                                                    (S (S (S
-                                                                    (S (S (S
-                                                                    (S (S (S
-                                                                    O))))))))))))))))))))))))))))))))))))))))))))))))))))))))))))))))))))))))))))))
-                                                                    (String
-                                                                    ((Ascii
-                                                                    (true,
-                                                                    true,
-                                                                    false,
-                                                                    false,
-                                                                    true,
-                                                                    false,
-                                                                    true,
-                                                                    false)),
-                                                                    (String
-                                                                    ((Ascii
-                                                                    (true,
-                                                                    false,
-                                                                    true,
-                                                                    false,
-                                                                    false,
-                                                                    true,
-                                                                    true,
-                                                                    false)),
-                                                                    (String
-                                                                    ((Ascii
-                                                                    (false,
-                                                                    false,
-                                                                    true,
-                                                                    false,
-                                                                    true,
-                                                                    true,
-                                                                    true,
-                                                                    false)),
-                                                                    (String
-                                                                    ((Ascii
-                                                                    (false,
-                                                                    false,
-                                                                    true,
-                                                                    false,
-                                                                    true,
-                                                                    true,
-                                                                    true,
-                                                                    false)),
-                                                                    (String
-                                                                    ((Ascii
-                                                                    (false,
-                                                                    false,
-                                                                    true,
-                                                                    true,
-                                                                    false,
-                                                                    true,
-                                                                    true,
-                                                                    false)),
-                                                                    (String
-                                                                    ((Ascii
-                                                                    (true,
-                                                                    false,
-                                                                    true,
-                                                                    false,
-                                                                    false,
-                                                                    true,
-                                                                    true,
-                                                                    false)),
-                                                                    (String
-                                                                    ((Ascii
-                                                                    (true,
-                                                                    false,
-                                                                    true,
-                                                                    true,
-                                                                    false,
-                                                                    true,
-                                                                    true,
-                                                                    false)),
-                                                                    (String
-                                                                    ((Ascii
-                                                                    (true,
-                                                                    false,
-                                                                    true,
-                                                                    false,
-                                                                    false,
-                                                                    true,
-                                                                    true,
-                                                                    false)),
-                                                                    (String
-                                                                    ((Ascii
-                                                                    (false,
-                                                                    true,
-                                                                    true,
-                                                                    true,
-                                                                    false,
-                                                                    true,
-                                                                    true,
-                                                                    false)),
-                                                                    (String
-                                                                    ((Ascii
-                                                                    (false,
-                                                                    false,
-                                                                    true,
-                                                                    false,
-                                                                    true,
-                                                                    true,
-                                                                    true,
-                                                                    false)),
-                                                                    (String
-                                                                    ((Ascii
-                                                                    (false,
-                                                                    false,
-                                                                    true,
-                                                                    false,
-                                                                    false,
-                                                                    false,
-                                                                    true,
-                                                                    false)),
-                                                                    (String
-                                                                    ((Ascii
-                                                                    (true,
-                                                                    false,
-                                                                    false,
-                                                                    false,
-                                                                    false,
-                                                                    true,
-                                                                    true,
-                                                                    false)),
-                                                                    (String
-                                                                    ((Ascii
-                                                                    (false,
-                                                                    false,
-                                                                    true,
-                                                                    false,
-                                                                    true,
-                                                                    true,
-                                                                    true,
-                                                                    false)),
-                                                                    (String
-                                                                    ((Ascii
-                                                                    (true,
-                                                                    false,
-                                                                    true,
-                                                                    false,
-                                                                    false,
-                                                                    true,
-                                                                    true,
-                                                                    false)),
-                                                                    EmptyString))))))))))))))))))))))))))))
-                                                                    ((String
-                                                                    ((Ascii
-                                                                    (false,
-                                                                    true,
-                                                                    true,
-                                                                    false,
-                                                                    true,
-                                                                    true,
-                                                                    true,
-                                                                    false)),
-                                                                    (String
-                                                                    ((Ascii
-                                                                    (true,
-                                                                    false,
-                                                                    false,
-                                                                    false,
-                                                                    false,
-                                                                    true,
-                                                                    true,
-                                                                    false)),
-                                                                    (String
-                                                                    ((Ascii
-                                                                    (false,
-                                                                    false,
-                                                                    true,
-                                                                    true,
-                                                                    false,
-                                                                    true,
-                                                                    true,
-                                                                    false)),
-                                                                    (String
-                                                                    ((Ascii
-                                                                    (true,
-                                                                    false,
-                                                                    false,
-                                                                    true,
-                                                                    false,
-                                                                    true,
-                                                                    true,
-                                                                    false)),
-                                                                    (String
-                                                                    ((Ascii
-                                                                    (false,
-                                                                    false,
-                                                                    true,
-                                                                    false,
-                                                                    false,
-                                                                    true,
-                                                                    true,
-                                                                    false)),
-                                                                    (String
-                                                                    ((Ascii
-                                                                    (true,
-                                                                    false,
-                                                                    false,
-                                                                    false,
-                                                                    false,
-                                                                    true,
-                                                                    true,
-                                                                    false)),
-                                                                    (String
-                                                                    ((Ascii
-                                                                    (false,
-                                                                    false,
-                                                                    true,
-                                                                    false,
-                                                                    true,
-                                                                    true,
-                                                                    true,
-                                                                    false)),
-                                                                    (String
-                                                                    ((Ascii
-                                                                    (true,
-                                                                    false,
-                                                                    true,
-                                                                    false,
-                                                                    false,
-                                                                    true,
-                                                                    true,
-                                                                    false)),
-                                                                    (String
-                                                                    ((Ascii
-                                                                    (true,
-                                                                    true,
-                                                                    false,
-                                                                    false,
-                                                                    true,
-                                                                    false,
-                                                                    true,
-                                                                    false)),
-                                                                    (String
-                                                                    ((Ascii
-                                                                    (true,
-                                                                    false,
-                                                                    true,
-                                                                    false,
-                                                                    false,
-                                                                    true,
-                                                                    true,
-                                                                    false)),
-                                                                    (String
-                                                                    ((Ascii
-                                                                    (false,
-                                                                    false,
-                                                                    true,
-                                                                    false,
-                                                                    true,
-                                                                    true,
-                                                                    true,
-                                                                    false)),
-                                                                    (String
-                                                                    ((Ascii
-                                                                    (false,
-                                                                    false,
-                                                                    true,
-                                                                    false,
-                                                                    true,
-                                                                    true,
-                                                                    true,
-                                                                    false)),
-                                                                    (String
-                                                                    ((Ascii
-                                                                    (false,
-                                                                    false,
-                                                                    true,
-                                                                    true,
-                                                                    false,
-                                                                    true,
-                                                                    true,
-                                                                    false)),
-                                                                    (String
-                                                                    ((Ascii
-                                                                    (true,
-                                                                    false,
-                                                                    true,
-                                                                    false,
-                                                                    false,
-                                                                    true,
-                                                                    true,
-                                                                    false)),
-                                                                    (String
-                                                                    ((Ascii
-                                                                    (true,
-                                                                    false,
-                                                                    true,
-                                                                    true,
-                                                                    false,
-                                                                    true,
-                                                                    true,
-                                                                    false)),
-                                                                    (String
-                                                                    ((Ascii
-                                                                    (true,
-                                                                    false,
-                                                                    true,
-                                                                    false,
-                                                                    false,
-                                                                    true,
-                                                                    true,
-                                                                    false)),
-                                                                    (String
-                                                                    ((Ascii
-                                                                    (false,
-                                                                    true,
-                                                                    true,
-                                                                    true,
-                                                                    false,
-                                                                    true,
-                                                                    true,
-                                                                    false)),
-                                                                    (String
-                                                                    ((Ascii
-                                                                    (false,
-                                                                    false,
-                                                                    true,
-                                                                    false,
-                                                                    true,
-                                                                    true,
-                                                                    true,
-                                                                    false)),
-                                                                    (String
-                                                                    ((Ascii
-                                                                    (false,
-                                                                    false,
-                                                                    true,
-                                                                    false,
-                                                                    false,
-                                                                    false,
-                                                                    true,
-                                                                    false)),
-                                                                    (String
-                                                                    ((Ascii
-                                                                    (true,
-                                                                    false,
-                                                                    false,
-                                                                    false,
-                                                                    false,
-                                                                    true,
-                                                                    true,
-                                                                    false)),
-                                                                    (String
-                                                                    ((Ascii
-                                                                    (false,
-                                                                    false,
-                                                                    true,
-                                                                    false,
-                                                                    true,
-                                                                    true,
-                                                                    true,
-                                                                    false)),
-                                                                    (String
-                                                                    ((Ascii
-                                                                    (true,
-                                                                    false,
-                                                                    true,
-                                                                    false,
-                                                                    false,
-                                                                    true,
-                                                                    true,
-                                                                    false)),
-                                                                    EmptyString)))))))))))))))))))))))))))))))))))))))))))) :: [])) :: (
-    (mkcut (S (S (S (S (S (S (S (S (S (S (S (S (S (S (S (S (S (S (S (S (S (S
-      (S (S (S (S (S (S (S (S (S (S (S (S (S (S (S (S (S (S (S (S (S (S (S (S
-      (S (S (S (S (S (S (S (S (S (S (S (S (S (S (S (S (S (S (S (S (S (S (S (S
-      (S (S (S (S (S (S (S (S
-      O))))))))))))))))))))))))))))))))))))))))))))))))))))))))))))))))))))))))))))))
-      (S (S (S (S (S (S (S (S (S (S (S (S (S (S (S (S (S (S (S (S (S (S (S (S
-      (S (S (S (S (S (S (S (S (S (S (S (S (S (S (S (S (S (S (S (S (S (S (S (S
-      (S (S (S (S (S (S (S (S (S (S (S (S (S (S (S (S (S (S (S (S (S (S (S (S
-      (S (S (S (S (S (S (S
-      O)))))))))))))))))))))))))))))))))))))))))))))))))))))))))))))))))))))))))))))))
-      (String ((Ascii (true, true, true, true, false, false, true, false)),
-      (String ((Ascii (false, true, false, false, true, true, true, false)),
-      (String ((Ascii (true, false, false, true, false, true, true, false)),
-      (String ((Ascii (true, true, true, false, false, true, true, false)),
-      (String ((Ascii (true, false, false, true, false, true, true, false)),
-      (String ((Ascii (false, true, true, true, false, true, true, false)),
-      (String ((Ascii (true, false, false, false, false, true, true, false)),
-      (String ((Ascii (false, false, true, false, true, true, true, false)),
-      (String ((Ascii (true, true, true, true, false, true, true, false)),
-      (String ((Ascii (false, true, false, false, true, true, true, false)),
-      (String ((Ascii (true, true, false, false, true, false, true, false)),
-      (String ((Ascii (false, false, true, false, true, true, true, false)),
-      (String ((Ascii (true, false, false, false, false, true, true, false)),
-      (String ((Ascii (false, false, true, false, true, true, true, false)),
-      (String ((Ascii (true, false, true, false, true, true, true, false)),
-      (String ((Ascii (true, true, false, false, true, true, true, false)),
-      (String ((Ascii (true, true, false, false, false, false, true, false)),
-      (String ((Ascii (true, true, true, true, false, true, true, false)),
-      (String ((Ascii (false, false, true, false, false, true, true, false)),
-      (String ((Ascii (true, false, true, false, false, true, true, false)),
-      EmptyString)))))))))))))))))))))))))))))))))))))))) ((String ((Ascii
-      (false, false, false, false, true, true, true, false)), (String ((Ascii
-      (true, false, false, false, false, true, true, false)), (String ((Ascii
-      (false, true, false, false, true, true, true, false)), (String ((Ascii
-      (true, true, false, false, true, true, true, false)), (String ((Ascii
-      (true, false, true, false, false, true, true, false)), (String ((Ascii
-      (false, true, true, true, false, false, true, false)), (String ((Ascii
-      (true, false, true, false, true, true, true, false)), (String ((Ascii
-      (true, false, true, true, false, true, true, false)), (String ((Ascii
-      (false, true, true, false, false, false, true, false)), (String ((Ascii
-      (true, false, false, true, false, true, true, false)), (String ((Ascii
-      (true, false, true, false, false, true, true, false)), (String ((Ascii
-      (false, false, true, true, false, true, true, false)), (String ((Ascii
-      (false, false, true, false, false, true, true, false)),
-      EmptyString)))))))))))))))))))))))))) :: [])) :: ((mkcut (S (S (S (S (S
-                                                          (S (S (S (S (S (S
-                                                          (S (S (S (S (S (S
-                                                          (S (S (S (S (S (S
-                                                          (S (S (S (S (S (S
-                                                          (S (S (S (S (S (S
-                                                          (S (S (S (S (S (S
-                                                          (S (S (S (S (S (S
-                                                          (S (S (S (S (S (S
-                                                          (S (S (S (S (S (S
-                                                          (S (S (S (S (S (S
-                                                          (S (S (S (S (S (S
-                                                          (S (S (S (S (S (S
-                                                          (S (S
-                                                          O)))))))))))))))))))))))))))))))))))))))))))))))))))))))))))))))))))))))))))))))
-                                                          (S (S (S (S (S (S
-                                                          (S (S (S (S (S (S
-                                                          (S (S (S (S (S (S
-                                                          (S (S (S (S (S (S
-                                                          (S (S (S (S (S (S
-                                                          (S (S (S (S (S (S
-                                                          (S (S (S (S (S (S
-                                                          (S (S (S (S (S (S
-                                                          (S (S (S (S (S (S
-                                                          (S (S (S (S (S (S
-                                                          (S (S (S (S (S (S
-                                                          (S (S (S (S (S (S
-                                                          (S (S (S (S (S (S
-                                                          (S (S (S (S (S (S
-                                                          (S (S (S
-                                                          O)))))))))))))))))))))))))))))))))))))))))))))))))))))))))))))))))))))))))))))))))))))))
-                                                          (String ((Ascii
-                                                          (true, true, true,
-                                                          true, false, false,
-                                                          true, false)),
-                                                          (String ((Ascii
-                                                          (false, false,
-                                                          true, false, false,
-                                                          false, true,
-                                                          false)), (String
-                                                          ((Ascii (false,
-                                                          true, true, false,
-                                                          false, false, true,
-                                                          false)), (String
-                                                          ((Ascii (true,
-                                                          false, false, true,
-                                                          false, false, true,
-                                                          false)), (String
-                                                          ((Ascii (true,
-                                                          false, false, true,
-                                                          false, false, true,
-                                                          false)), (String
-                                                          ((Ascii (false,
-                                                          false, true, false,
-                                                          false, true, true,
-                                                          false)), (String
-                                                          ((Ascii (true,
-                                                          false, true, false,
-                                                          false, true, true,
-                                                          false)), (String
-                                                          ((Ascii (false,
-                                                          true, true, true,
-                                                          false, true, true,
-                                                          false)), (String
-                                                          ((Ascii (false,
-                                                          false, true, false,
-                                                          true, true, true,
-                                                          false)), (String
-                                                          ((Ascii (true,
-                                                          false, false, true,
-                                                          false, true, true,
-                                                          false)), (String
-                                                          ((Ascii (false,
-                                                          true, true, false,
-                                                          false, true, true,
-                                                          false)), (String
-                                                          ((Ascii (true,
-                                                          false, false, true,
-                                                          false, true, true,
-                                                          false)), (String
-                                                          ((Ascii (true,
-                                                          true, false, false,
-                                                          false, true, true,
-                                                          false)), (String
-                                                          ((Ascii (true,
-                                                          false, false,
-                                                          false, false, true,
-                                                          true, false)),
-                                                          (String ((Ascii
-                                                          (false, false,
-                                                          true, false, true,
-                                                          true, true,
-                                                          false)), (String
-                                                          ((Ascii (true,
-                                                          false, false, true,
-                                                          false, true, true,
-                                                          false)), (String
-                                                          ((Ascii (true,
-                                                          true, true, true,
-                                                          false, true, true,
-                                                          false)), (String
-                                                          ((Ascii (false,
-                                                          true, true, true,
-                                                          false, true, true,
-                                                          false)),
-                                                          EmptyString))))))))))))))))))))))))))))))))))))
-                                                          ((String ((Ascii
-                                                          (false, false,
-                                                          false, false, true,
-                                                          true, true,
-                                                          false)), (String
-                                                          ((Ascii (true,
-                                                          false, false,
-                                                          false, false, true,
-                                                          true, false)),
-                                                          (String ((Ascii
-                                                          (false, true,
-                                                          false, false, true,
-                                                          true, true,
-                                                          false)), (String
-                                                          ((Ascii (true,
-                                                          true, false, false,
-                                                          true, true, true,
-                                                          false)), (String
-                                                          ((Ascii (true,
-                                                          false, true, false,
-                                                          false, true, true,
-                                                          false)), (String
-                                                          ((Ascii (true,
-                                                          true, false, false,
-                                                          true, false, true,
-                                                          false)), (String
-                                                          ((Ascii (false,
-                                                          false, true, false,
-                                                          true, true, true,
-                                                          false)), (String
-                                                          ((Ascii (false,
-                                                          true, false, false,
-                                                          true, true, true,
-                                                          false)), (String
-                                                          ((Ascii (true,
-                                                          false, false, true,
-                                                          false, true, true,
-                                                          false)), (String
-                                                          ((Ascii (false,
-                                                          true, true, true,
-                                                          false, true, true,
-                                                          false)), (String
-                                                          ((Ascii (true,
-                                                          true, true, false,
-                                                          false, true, true,
-                                                          false)), (String
-                                                          ((Ascii (false,
-                                                          true, true, false,
-                                                          false, false, true,
-                                                          false)), (String
-                                                          ((Ascii (true,
-                                                          false, false, true,
-                                                          false, true, true,
-                                                          false)), (String
-                                                          ((Ascii (true,
-                                                          false, true, false,
-                                                          false, true, true,
-                                                          false)), (String
-                                                          ((Ascii (false,
-                                                          false, true, true,
-                                                          false, true, true,
-                                                          false)), (String
-                                                          ((Ascii (false,
-                                                          false, true, false,
-                                                          false, true, true,
-                                                          false)),
-                                                          EmptyString)))))))))))))))))))))))))))))))) :: [])) :: (
-    (mkcut (S (S (S (S (S (S (S (S (S (S (S (S (S (S (S (S (S (S (S (S (S (S
-      (S (S (S (S (S (S (S (S (S (S (S (S (S (S (S (S (S (S (S (S (S (S (S (S
-      (S (S (S (S (S (S (S (S (S (S (S (S (S (S (S (S (S (S (S (S (S (S (S (S
-      (S (S (S (S (S (S (S (S (S (S (S (S (S (S (S (S (S
-      O)))))))))))))))))))))))))))))))))))))))))))))))))))))))))))))))))))))))))))))))))))))))
-      (S (S (S (S (S (S (S (S (S (S (S (S (S (S (S (S (S (S (S (S (S (S (S (S
-      (S (S (S (S (S (S (S (S (S (S (S (S (S (S (S (S (S (S (S (S (S (S (S (S
-      (S (S (S (S (S (S (S (S (S (S (S (S (S (S (S (S (S (S (S (S (S (S (S (S
-      (S (S (S (S (S (S (S (S (S (S (S (S (S (S (S (S (S (S (S (S (S (S
-      O))))))))))))))))))))))))))))))))))))))))))))))))))))))))))))))))))))))))))))))))))))))))))))))
-      (String ((Ascii (false, true, false, false, false, false, true,
-      false)), (String ((Ascii (true, false, false, false, false, true, true,
-      false)), (String ((Ascii (false, false, true, false, true, true, true,
-      false)), (String ((Ascii (true, true, false, false, false, true, true,
-      false)), (String ((Ascii (false, false, false, true, false, true, true,
-      false)), (String ((Ascii (false, true, true, true, false, false, true,
-      false)), (String ((Ascii (true, false, true, false, true, true, true,
-      false)), (String ((Ascii (true, false, true, true, false, true, true,
-      false)), (String ((Ascii (false, true, false, false, false, true, true,
-      false)), (String ((Ascii (true, false, true, false, false, true, true,
-      false)), (String ((Ascii (false, true, false, false, true, true, true,
-      false)), EmptyString)))))))))))))))))))))) ((String ((Ascii (false,
-      false, false, false, true, true, true, false)), (String ((Ascii (true,
-      false, false, false, false, true, true, false)), (String ((Ascii
-      (false, true, false, false, true, true, true, false)), (String ((Ascii
-      (true, true, false, false, true, true, true, false)), (String ((Ascii
-      (true, false, true, false, false, true, true, false)), (String ((Ascii
-      (false, true, true, true, false, false, true, false)), (String ((Ascii
-      (true, false, true, false, true, true, true, false)), (String ((Ascii
-      (true, false, true, true, false, true, true, false)), (String ((Ascii
-      (false, true, true, false, false, false, true, false)), (String ((Ascii
-      (true, false, false, true, false, true, true, false)), (String ((Ascii
-      (true, false, true, false, false, true, true, false)), (String ((Ascii
-      (false, false, true, true, false, true, true, false)), (String ((Ascii
-      (false, false, true, false, false, true, true, false)),
-      EmptyString)))))))))))))))))))))))))) :: [])) :: []))))))))))))))))) }
-
-(** val l_IATEntryDetail : layout **)
-
-let l_IATEntryDetail =
-  { l_name = (String ((Ascii (true, false, false, true, false, false, true,
-    false)), (String ((Ascii (true, false, false, false, false, false, true,
-    false)), (String ((Ascii (false, false, true, false, true, false, true,
-    false)), (String ((Ascii (true, false, true, false, false, false, true,
-    false)), (String ((Ascii (false, true, true, true, false, true, true,
-    false)), (String ((Ascii (false, false, true, false, true, true, true,
-    false)), (String ((Ascii (false, true, false, false, true, true, true,
-    false)), (String ((Ascii (true, false, false, true, true, true, true,
-    false)), (String ((Ascii (false, false, true, false, false, false, true,
-    false)), (String ((Ascii (true, false, true, false, false, true, true,
-    false)), (String ((Ascii (false, false, true, false, true, true, true,
-    false)), (String ((Ascii (true, false, false, false, false, true, true,
-    false)), (String ((Ascii (true, false, false, true, false, true, true,
-    false)), (String ((Ascii (false, false, true, true, false, true, true,
-    false)), EmptyString)))))))))))))))))))))))))))); l_ix = IRune; l_segs =
-    ((SLit ((Npos (XO (XI (XI (XO (XI XH)))))) :: [])) :: ((SItoa (String
-    ((Ascii (false, false, true, false, true, false, true, false)), (String
-    ((Ascii (false, true, false, false, true, true, true, false)), (String
-    ((Ascii (true, false, false, false, false, true, true, false)), (String
-    ((Ascii (false, true, true, true, false, true, true, false)), (String
-    ((Ascii (true, true, false, false, true, true, true, false)), (String
-    ((Ascii (true, false, false, false, false, true, true, false)), (String
-    ((Ascii (true, true, false, false, false, true, true, false)), (String
-    ((Ascii (false, false, true, false, true, true, true, false)), (String
-    ((Ascii (true, false, false, true, false, true, true, false)), (String
-    ((Ascii (true, true, true, true, false, true, true, false)), (String
-    ((Ascii (false, true, true, true, false, true, true, false)), (String
-    ((Ascii (true, true, false, false, false, false, true, false)), (String
-    ((Ascii (true, true, true, true, false, true, true, false)), (String
-    ((Ascii (false, false, true, false, false, true, true, false)), (String
-    ((Ascii (true, false, true, false, false, true, true, false)),
-    EmptyString))))))))))))))))))))))))))))))) :: ((SStr ((String ((Ascii
-    (false, true, false, false, true, false, true, false)), (String ((Ascii
-    (false, false, true, false, false, false, true, false)), (String ((Ascii
-    (false, true, true, false, false, false, true, false)), (String ((Ascii
-    (true, false, false, true, false, false, true, false)), (String ((Ascii
-    (true, false, false, true, false, false, true, false)), (String ((Ascii
-    (false, false, true, false, false, true, true, false)), (String ((Ascii
-    (true, false, true, false, false, true, true, false)), (String ((Ascii
-    (false, true, true, true, false, true, true, false)), (String ((Ascii
-    (false, false, true, false, true, true, true, false)), (String ((Ascii
-    (true, false, false, true, false, true, true, false)), (String ((Ascii
-    (false, true, true, false, false, true, true, false)), (String ((Ascii
-    (true, false, false, true, false, true, true, false)), (String ((Ascii
-    (true, true, false, false, false, true, true, false)), (String ((Ascii
-    (true, false, false, false, false, true, true, false)), (String ((Ascii
-    (false, false, true, false, true, true, true, false)), (String ((Ascii
-    (true, false, false, true, false, true, true, false)), (String ((Ascii
-    (true, true, true, true, false, true, true, false)), (String ((Ascii
-    (false, true, true, true, false, true, true, false)),
-    EmptyString)))))))))))))))))))))))))))))))))))), (S (S (S (S (S (S (S (S
-    O)))))))))) :: ((SRaw (String ((Ascii (true, true, false, false, false,
-    false, true, false)), (String ((Ascii (false, false, false, true, false,
-    true, true, false)), (String ((Ascii (true, false, true, false, false,
-    true, true, false)), (String ((Ascii (true, true, false, false, false,
-    true, true, false)), (String ((Ascii (true, true, false, true, false,
-    true, true, false)), (String ((Ascii (false, false, true, false, false,
-    false, true, false)), (String ((Ascii (true, false, false, true, false,
-    true, true, false)), (String ((Ascii (true, true, true, false, false,
-    true, true, false)), (String ((Ascii (true, false, false, true, false,
-    true, true, false)), (String ((Ascii (false, false, true, false, true,
-    true, true, false)), EmptyString))))))))))))))))))))) :: ((SNum ((String
-    ((Ascii (true, false, false, false, false, false, true, false)), (String
-    ((Ascii (false, false, true, false, false, true, true, false)), (String
-    ((Ascii (false, false, true, false, false, true, true, false)), (String
-    ((Ascii (true, false, true, false, false, true, true, false)), (String
-    ((Ascii (false, true, true, true, false, true, true, false)), (String
-    ((Ascii (false, false, true, false, false, true, true, false)), (String
-    ((Ascii (true, false, false, false, false, true, true, false)), (String
-    ((Ascii (false, true, false, false, true, false, true, false)), (String
-    ((Ascii (true, false, true, false, false, true, true, false)), (String
-    ((Ascii (true, true, false, false, false, true, true, false)), (String
-    ((Ascii (true, true, true, true, false, true, true, false)), (String
-    ((Ascii (false, true, false, false, true, true, true, false)), (String
-    ((Ascii (false, false, true, false, false, true, true, false)), (String
-    ((Ascii (true, true, false, false, true, true, true, false)),
-    EmptyString)))))))))))))))))))))))))))), (S (S (S (S O)))))) :: ((SLit
-    ((Npos (XO (XO (XO (XO (XO XH)))))) :: ((Npos (XO (XO (XO (XO (XO
-    XH)))))) :: ((Npos (XO (XO (XO (XO (XO XH)))))) :: ((Npos (XO (XO (XO (XO
-    (XO XH)))))) :: ((Npos (XO (XO (XO (XO (XO XH)))))) :: ((Npos (XO (XO (XO
-    (XO (XO XH)))))) :: ((Npos (XO (XO (XO (XO (XO XH)))))) :: ((Npos (XO (XO
-    (XO (XO (XO XH)))))) :: ((Npos (XO (XO (XO (XO (XO XH)))))) :: ((Npos (XO
-    (XO (XO (XO (XO XH)))))) :: ((Npos (XO (XO (XO (XO (XO XH)))))) :: ((Npos
-    (XO (XO (XO (XO (XO XH)))))) :: ((Npos (XO (XO (XO (XO (XO
-    XH)))))) :: [])))))))))))))) :: ((SNum ((String ((Ascii (true, false,
-    false, false, false, false, true, false)), (String ((Ascii (true, false,
-    true, true, false, true, true, false)), (String ((Ascii (true, true,
-    true, true, false, true, true, false)), (String ((Ascii (true, false,
-    true, false, true, true, true, false)), (String ((Ascii (false, true,
-    true, true, false, true, true, false)), (String ((Ascii (false, false,
-    true, false, true, true, true, false)), EmptyString)))))))))))), (S (S (S
-    (S (S (S (S (S (S (S O)))))))))))) :: ((SAlpha ((String ((Ascii (false,
-    false, true, false, false, false, true, false)), (String ((Ascii (false,
-    true, true, false, false, false, true, false)), (String ((Ascii (true,
-    false, false, true, false, false, true, false)), (String ((Ascii (true,
-    false, false, false, false, false, true, false)), (String ((Ascii (true,
-    true, false, false, false, true, true, false)), (String ((Ascii (true,
-    true, false, false, false, true, true, false)), (String ((Ascii (true,
-    true, true, true, false, true, true, false)), (String ((Ascii (true,
-    false, true, false, true, true, true, false)), (String ((Ascii (false,
-    true, true, true, false, true, true, false)), (String ((Ascii (false,
-    false, true, false, true, true, true, false)), (String ((Ascii (false,
-    true, true, true, false, false, true, false)), (String ((Ascii (true,
-    false, true, false, true, true, true, false)), (String ((Ascii (true,
-    false, true, true, false, true, true, false)), (String ((Ascii (false,
-    true, false, false, false, true, true, false)), (String ((Ascii (true,
-    false, true, false, false, true, true, false)), (String ((Ascii (false,
-    true, false, false, true, true, true, false)),
-    EmptyString)))))))))))))))))))))))))))))))), (S (S (S (S (S (S (S (S (S
-    (S (S (S (S (S (S (S (S (S (S (S (S (S (S (S (S (S (S (S (S (S (S (S (S
-    (S (S O))))))))))))))))))))))))))))))))))))) :: ((SLit ((Npos (XO (XO (XO
-    (XO (XO XH)))))) :: ((Npos (XO (XO (XO (XO (XO
-    XH)))))) :: []))) :: ((SAlpha ((String ((Ascii (true, true, true, true,
-    false, false, true, false)), (String ((Ascii (false, true, true, false,
-    false, false, true, false)), (String ((Ascii (true, false, false, false,
-    false, false, true, false)), (String ((Ascii (true, true, false, false,
-    false, false, true, false)), (String ((Ascii (true, true, false, false,
-    true, false, true, false)), (String ((Ascii (true, true, false, false,
-    false, true, true, false)), (String ((Ascii (false, true, false, false,
-    true, true, true, false)), (String ((Ascii (true, false, true, false,
-    false, true, true, false)), (String ((Ascii (true, false, true, false,
-    false, true, true, false)), (String ((Ascii (false, true, true, true,
-    false, true, true, false)), (String ((Ascii (true, false, false, true,
-    false, true, true, false)), (String ((Ascii (false, true, true, true,
-    false, true, true, false)), (String ((Ascii (true, true, true, false,
-    false, true, true, false)), (String ((Ascii (true, false, false, true,
-    false, false, true, false)), (String ((Ascii (false, true, true, true,
-    false, true, true, false)), (String ((Ascii (false, false, true, false,
-    false, true, true, false)), (String ((Ascii (true, false, false, true,
-    false, true, true, false)), (String ((Ascii (true, true, false, false,
-    false, true, true, false)), (String ((Ascii (true, false, false, false,
-    false, true, true, false)), (String ((Ascii (false, false, true, false,
-    true, true, true, false)), (String ((Ascii (true, true, true, true,
-    false, true, true, false)), (String ((Ascii (false, true, false, false,
-    true, true, true, false)),
-    EmptyString)))))))))))))))))))))))))))))))))))))))))))), (S
-    O))) :: ((SAlpha ((String ((Ascii (true, true, false, false, true, false,
-    true, false)), (String ((Ascii (true, false, true, false, false, true,
-    true, false)), (String ((Ascii (true, true, false, false, false, true,
-    true, false)), (String ((Ascii (true, true, true, true, false, true,
-    true, false)), (String ((Ascii (false, true, true, true, false, true,
-    true, false)), (String ((Ascii (false, false, true, false, false, true,
-    true, false)), (String ((Ascii (true, false, false, false, false, true,
-    true, false)), (String ((Ascii (false, true, false, false, true, true,
-    true, false)), (String ((Ascii (true, false, false, true, true, true,
-    true, false)), (String ((Ascii (true, true, true, true, false, false,
-    true, false)), (String ((Ascii (false, true, true, false, false, false,
-    true, false)), (String ((Ascii (true, false, false, false, false, false,
-    true, false)), (String ((Ascii (true, true, false, false, false, false,
-    true, false)), (String ((Ascii (true, true, false, false, true, false,
-    true, false)), (String ((Ascii (true, true, false, false, false, true,
-    true, false)), (String ((Ascii (false, true, false, false, true, true,
-    true, false)), (String ((Ascii (true, false, true, false, false, true,
-    true, false)), (String ((Ascii (true, false, true, false, false, true,
-    true, false)), (String ((Ascii (false, true, true, true, false, true,
-    true, false)), (String ((Ascii (true, false, false, true, false, true,
-    true, false)), (String ((Ascii (false, true, true, true, false, true,
-    true, false)), (String ((Ascii (true, true, true, false, false, true,
-    true, false)), (String ((Ascii (true, false, false, true, false, false,
-    true, false)), (String ((Ascii (false, true, true, true, false, true,
-    true, false)), (String ((Ascii (false, false, true, false, false, true,
-    true, false)), (String ((Ascii (true, false, false, true, false, true,
-    true, false)), (String ((Ascii (true, true, false, false, false, true,
-    true, false)), (String ((Ascii (true, false, false, false, false, true,
-    true, false)), (String ((Ascii (false, false, true, false, true, true,
-    true, false)), (String ((Ascii (true, true, true, true, false, true,
-    true, false)), (String ((Ascii (false, true, false, false, true, true,
-    true, false)),
-    EmptyString)))))))))))))))))))))))))))))))))))))))))))))))))))))))))))))),
-    (S O))) :: ((SItoa (String ((Ascii (true, false, false, false, false,
-    false, true, false)), (String ((Ascii (false, false, true, false, false,
-    true, true, false)), (String ((Ascii (false, false, true, false, false,
-    true, true, false)), (String ((Ascii (true, false, true, false, false,
-    true, true, false)), (String ((Ascii (false, true, true, true, false,
-    true, true, false)), (String ((Ascii (false, false, true, false, false,
-    true, true, false)), (String ((Ascii (true, false, false, false, false,
-    true, true, false)), (String ((Ascii (false, true, false, false, true,
-    false, true, false)), (String ((Ascii (true, false, true, false, false,
-    true, true, false)), (String ((Ascii (true, true, false, false, false,
-    true, true, false)), (String ((Ascii (true, true, true, true, false,
-    true, true, false)), (String ((Ascii (false, true, false, false, true,
-    true, true, false)), (String ((Ascii (false, false, true, false, false,
-    true, true, false)), (String ((Ascii (true, false, false, true, false,
-    false, true, false)), (String ((Ascii (false, true, true, true, false,
-    true, true, false)), (String ((Ascii (false, false, true, false, false,
-    true, true, false)), (String ((Ascii (true, false, false, true, false,
-    true, true, false)), (String ((Ascii (true, true, false, false, false,
-    true, true, false)), (String ((Ascii (true, false, false, false, false,
-    true, true, false)), (String ((Ascii (false, false, true, false, true,
-    true, true, false)), (String ((Ascii (true, true, true, true, false,
-    true, true, false)), (String ((Ascii (false, true, false, false, true,
-    true, true, false)),
-    EmptyString))))))))))))))))))))))))))))))))))))))))))))) :: ((SStr
-    ((String ((Ascii (false, false, true, false, true, false, true, false)),
-    (String ((Ascii (false, true, false, false, true, true, true, false)),
-    (String ((Ascii (true, false, false, false, false, true, true, false)),
-    (String ((Ascii (true, true, false, false, false, true, true, false)),
-    (String ((Ascii (true, false, true, false, false, true, true, false)),
-    (String ((Ascii (false, true, true, true, false, false, true, false)),
-    (String ((Ascii (true, false, true, false, true, true, true, false)),
-    (String ((Ascii (true, false, true, true, false, true, true, false)),
-    (String ((Ascii (false, true, false, false, false, true, true, false)),
-    (String ((Ascii (true, false, true, false, false, true, true, false)),
-    (String ((Ascii (false, true, false, false, true, true, true, false)),
-    EmptyString)))))))))))))))))))))), (S (S (S (S (S (S (S (S (S (S (S (S (S
-    (S (S O))))))))))))))))) :: []))))))))))))); l_cuts =
-    ((mkcut O (S O) EmptyString []) :: ((mkcut (S O) (S (S (S O))) (String
-                                          ((Ascii (false, false, true, false,
-                                          true, false, true, false)), (String
-                                          ((Ascii (false, true, false, false,
-                                          true, true, true, false)), (String
-                                          ((Ascii (true, false, false, false,
-                                          false, true, true, false)), (String
-                                          ((Ascii (false, true, true, true,
-                                          false, true, true, false)), (String
-                                          ((Ascii (true, true, false, false,
-                                          true, true, true, false)), (String
-                                          ((Ascii (true, false, false, false,
-                                          false, true, true, false)), (String
-                                          ((Ascii (true, true, false, false,
-                                          false, true, true, false)), (String
-                                          ((Ascii (false, false, true, false,
-                                          true, true, true, false)), (String
-                                          ((Ascii (true, false, false, true,
-                                          false, true, true, false)), (String
-                                          ((Ascii (true, true, true, true,
-                                          false, true, true, false)), (String
-                                          ((Ascii (false, true, true, true,
-                                          false, true, true, false)), (String
-                                          ((Ascii (true, true, false, false,
-                                          false, false, true, false)),
-                                          (String ((Ascii (true, true, true,
-                                          true, false, true, true, false)),
-                                          (String ((Ascii (false, false,
-                                          true, false, false, true, true,
-                                          false)), (String ((Ascii (true,
-                                          false, true, false, false, true,
-                                          true, false)),
-                                          EmptyString))))))))))))))))))))))))))))))
-                                          ((String ((Ascii (false, false,
-                                          false, false, true, true, true,
-                                          false)), (String ((Ascii (true,
-                                          false, false, false, false, true,
-                                          true, false)), (String ((Ascii
-                                          (false, true, false, false, true,
-                                          true, true, false)), (String
-                                          ((Ascii (true, true, false, false,
-                                          true, true, true, false)), (String
-                                          ((Ascii (true, false, true, false,
-                                          false, true, true, false)), (String
-                                          ((Ascii (false, true, true, true,
-                                          false, false, true, false)),
-                                          (String ((Ascii (true, false, true,
-                                          false, true, true, true, false)),
-                                          (String ((Ascii (true, false, true,
-                                          true, false, true, true, false)),
-                                          (String ((Ascii (false, true, true,
-                                          false, false, false, true, false)),
-                                          (String ((Ascii (true, false,
-                                          false, true, false, true, true,
-                                          false)), (String ((Ascii (true,
-                                          false, true, false, false, true,
-                                          true, false)), (String ((Ascii
-                                          (false, false, true, true, false,
-                                          true, true, false)), (String
-                                          ((Ascii (false, false, true, false,
-                                          false, true, true, false)),
-                                          EmptyString)))))))))))))))))))))))))) :: [])) :: (
-    (mkcut (S (S (S O))) (S (S (S (S (S (S (S (S (S (S (S O)))))))))))
-      (String ((Ascii (false, true, false, false, true, false, true, false)),
-      (String ((Ascii (false, false, true, false, false, false, true,
-      false)), (String ((Ascii (false, true, true, false, false, false, true,
-      false)), (String ((Ascii (true, false, false, true, false, false, true,
-      false)), (String ((Ascii (true, false, false, true, false, false, true,
-      false)), (String ((Ascii (false, false, true, false, false, true, true,
-      false)), (String ((Ascii (true, false, true, false, false, true, true,
-      false)), (String ((Ascii (false, true, true, true, false, true, true,
-      false)), (String ((Ascii (false, false, true, false, true, true, true,
-      false)), (String ((Ascii (true, false, false, true, false, true, true,
-      false)), (String ((Ascii (false, true, true, false, false, true, true,
-      false)), (String ((Ascii (true, false, false, true, false, true, true,
-      false)), (String ((Ascii (true, true, false, false, false, true, true,
-      false)), (String ((Ascii (true, false, false, false, false, true, true,
-      false)), (String ((Ascii (false, false, true, false, true, true, true,
-      false)), (String ((Ascii (true, false, false, true, false, true, true,
-      false)), (String ((Ascii (true, true, true, true, false, true, true,
-      false)), (String ((Ascii (false, true, true, true, false, true, true,
-      false)), EmptyString)))))))))))))))))))))))))))))))))))) ((String
-      ((Ascii (false, false, false, false, true, true, true, false)), (String
-      ((Ascii (true, false, false, false, false, true, true, false)), (String
-      ((Ascii (false, true, false, false, true, true, true, false)), (String
-      ((Ascii (true, true, false, false, true, true, true, false)), (String
-      ((Ascii (true, false, true, false, false, true, true, false)), (String
-      ((Ascii (true, true, false, false, true, false, true, false)), (String
-      ((Ascii (false, false, true, false, true, true, true, false)), (String
-      ((Ascii (false, true, false, false, true, true, true, false)), (String
-      ((Ascii (true, false, false, true, false, true, true, false)), (String
-      ((Ascii (false, true, true, true, false, true, true, false)), (String
-      ((Ascii (true, true, true, false, false, true, true, false)), (String
-      ((Ascii (false, true, true, false, false, false, true, false)), (String
-      ((Ascii (true, false, false, true, false, true, true, false)), (String
-      ((Ascii (true, false, true, false, false, true, true, false)), (String
-      ((Ascii (false, false, true, true, false, true, true, false)), (String
-      ((Ascii (false, false, true, false, false, true, true, false)),
-      EmptyString)))))))))))))))))))))))))))))))) :: [])) :: ((mkcut (S (S (S
-                                                                (S (S (S (S
-                                                                (S (S (S (S
-                                                                O)))))))))))
-                                                                (S (S (S (S
-                                                                (S (S (S (S
-                                                                (S (S (S (S
-                                                                O))))))))))))
-                                                                (String
-                                                                ((Ascii
-                                                                (true, true,
-                                                                false, false,
-                                                                false, false,
-                                                                true,
-                                                                false)),
-                                                                (String
-                                                                ((Ascii
-                                                                (false,
-                                                                false, false,
-                                                                true, false,
-                                                                true, true,
-                                                                false)),
-                                                                (String
-                                                                ((Ascii
-                                                                (true, false,
-                                                                true, false,
-                                                                false, true,
-                                                                true,
-                                                                false)),
-                                                                (String
-                                                                ((Ascii
-                                                                (true, true,
-                                                                false, false,
-                                                                false, true,
-                                                                true,
-                                                                false)),
-                                                                (String
-                                                                ((Ascii
-                                                                (true, true,
-                                                                false, true,
-                                                                false, true,
-                                                                true,
-                                                                false)),
-                                                                (String
-                                                                ((Ascii
-                                                                (false,
-                                                                false, true,
-                                                                false, false,
-                                                                false, true,
-                                                                false)),
-                                                                (String
-                                                                ((Ascii
-                                                                (true, false,
-                                                                false, true,
-                                                                false, true,
-                                                                true,
-                                                                false)),
-                                                                (String
-                                                                ((Ascii
-                                                                (true, true,
-                                                                true, false,
-                                                                false, true,
-                                                                true,
-                                                                false)),
-                                                                (String
-                                                                ((Ascii
-                                                                (true, false,
-                                                                false, true,
-                                                                false, true,
-                                                                true,
-                                                                false)),
-                                                                (String
-                                                                ((Ascii
-                                                                (false,
-                                                                false, true,
-                                                                false, true,
-                                                                true, true,
-                                                                false)),
-                                                                EmptyString))))))))))))))))))))
-                                                                ((String
-                                                                ((Ascii
-                                                                (false,
-                                                                false, false,
-                                                                false, true,
-                                                                true, true,
-                                                                false)),
-                                                                (String
-                                                                ((Ascii
-                                                                (true, false,
-                                                                false, false,
-                                                                false, true,
-                                                                true,
-                                                                false)),
-                                                                (String
-                                                                ((Ascii
-                                                                (false, true,
-                                                                false, false,
-                                                                true, true,
-                                                                true,
-                                                                false)),
-                                                                (String
-                                                                ((Ascii
-                                                                (true, true,
-                                                                false, false,
-                                                                true, true,
-                                                                true,
-                                                                false)),
-                                                                (String
-                                                                ((Ascii
-                                                                (true, false,
-                                                                true, false,
-                                                                false, true,
-                                                                true,
-                                                                false)),
-                                                                (String
-                                                                ((Ascii
-                                                                (true, true,
-                                                                false, false,
-                                                                true, false,
-                                                                true,
-                                                                false)),
-                                                                (String
-                                                                ((Ascii
-                                                                (false,
-                                                                false, true,
-                                                                false, true,
-                                                                true, true,
-                                                                false)),
-                                                                (String
-                                                                ((Ascii
-                                                                (false, true,
-                                                                false, false,
-                                                                true, true,
-                                                                true,
-                                                                false)),
-                                                                (String
-                                                                ((Ascii
-                                                                (true, false,
-                                                                false, true,
-                                                                false, true,
-                                                                true,
-                                                                false)),
-                                                                (String
-                                                                ((Ascii
-                                                                (false, true,
-                                                                true, true,
-                                                                false, true,
-                                                                true,
-                                                                false)),
-                                                                (String
-                                                                ((Ascii
-                                                                (true, true,
-                                                                true, false,
-                                                                false, true,
-                                                                true,
-                                                                false)),
-                                                                (String
-                                                                ((Ascii
-                                                                (false, true,
-                                                                true, false,
-                                                                false, false,
-                                                                true,
-                                                                false)),
-                                                                (String
-                                                                ((Ascii
-                                                                (true, false,
-                                                                false, true,
-                                                                false, true,
-                                                                true,
-                                                                false)),
-                                                                (String
-                                                                ((Ascii
-                                                                (true, false,
-                                                                true, false,
-                                                                false, true,
-                                                                true,
-                                                                false)),
-                                                                (String
-                                                                ((Ascii
-                                                                (false,
-                                                                false, true,
-                                                                true, false,
-                                                                true, true,
-                                                                false)),
-                                                                (String
-                                                                ((Ascii
-                                                                (false,
-                                                                false, true,
-                                                                false, false,
-                                                                true, true,
-                                                                false)),
-                                                                EmptyString)))))))))))))))))))))))))))))))) :: [])) :: (
-    (mkcut (S (S (S (S (S (S (S (S (S (S (S (S O)))))))))))) (S (S (S (S (S
-      (S (S (S (S (S (S (S (S (S (S (S O)))))))))))))))) (String ((Ascii
-      (true, false, false, false, false, false, true, false)), (String
-      ((Ascii (false, false, true, false, false, true, true, false)), (String
-      ((Ascii (false, false, true, false, false, true, true, false)), (String
-      ((Ascii (true, false, true, false, false, true, true, false)), (String
-      ((Ascii (false, true, true, true, false, true, true, false)), (String
-      ((Ascii (false, false, true, false, false, true, true, false)), (String
-      ((Ascii (true, false, false, false, false, true, true, false)), (String
-      ((Ascii (false, true, false, false, true, false, true, false)), (String
-      ((Ascii (true, false, true, false, false, true, true, false)), (String
-      ((Ascii (true, true, false, false, false, true, true, false)), (String
-      ((Ascii (true, true, true, true, false, true, true, false)), (String
-      ((Ascii (false, true, false, false, true, true, true, false)), (String
-      ((Ascii (false, false, true, false, false, true, true, false)), (String
-      ((Ascii (true, true, false, false, true, true, true, false)),
-      EmptyString)))))))))))))))))))))))))))) ((String ((Ascii (false, false,
-      false, false, true, true, true, false)), (String ((Ascii (true, false,
-      false, false, false, true, true, false)), (String ((Ascii (false, true,
-      false, false, true, true, true, false)), (String ((Ascii (true, true,
-      false, false, true, true, true, false)), (String ((Ascii (true, false,
-      true, false, false, true, true, false)), (String ((Ascii (false, true,
-      true, true, false, false, true, false)), (String ((Ascii (true, false,
-      true, false, true, true, true, false)), (String ((Ascii (true, false,
-      true, true, false, true, true, false)), (String ((Ascii (false, true,
-      true, false, false, false, true, false)), (String ((Ascii (true, false,
-      false, true, false, true, true, false)), (String ((Ascii (true, false,
-      true, false, false, true, true, false)), (String ((Ascii (false, false,
-      true, true, false, true, true, false)), (String ((Ascii (false, false,
-      true, false, false, true, true, false)),
-      EmptyString)))))))))))))))))))))))))) :: [])) :: ((mkcut (S (S (S (S (S
-                                                          (S (S (S (S (S (S
-                                                          (S (S (S (S (S
-                                                          O))))))))))))))))
-                                                          (S (S (S (S (S (S
-                                                          (S (S (S (S (S (S
-                                                          (S (S (S (S (S (S
-                                                          (S (S (S (S (S (S
-                                                          (S (S (S (S (S
-                                                          O)))))))))))))))))))))))))))))
-                                                          EmptyString []) :: (
-    (mkcut (S (S (S (S (S (S (S (S (S (S (S (S (S (S (S (S (S (S (S (S (S (S
-      (S (S (S (S (S (S (S O))))))))))))))))))))))))))))) (S (S (S (S (S (S
-      (S (S (S (S (S (S (S (S (S (S (S (S (S (S (S (S (S (S (S (S (S (S (S (S
-      (S (S (S (S (S (S (S (S (S O)))))))))))))))))))))))))))))))))))))))
-      (String ((Ascii (true, false, false, false, false, false, true,
-      false)), (String ((Ascii (true, false, true, true, false, true, true,
-      false)), (String ((Ascii (true, true, true, true, false, true, true,
-      false)), (String ((Ascii (true, false, true, false, true, true, true,
-      false)), (String ((Ascii (false, true, true, true, false, true, true,
-      false)), (String ((Ascii (false, false, true, false, true, true, true,
-      false)), EmptyString)))))))))))) ((String ((Ascii (false, false, false,
-      false, true, true, true, false)), (String ((Ascii (true, false, false,
-      false, false, true, true, false)), (String ((Ascii (false, true, false,
-      false, true, true, true, false)), (String ((Ascii (true, true, false,
-      false, true, true, true, false)), (String ((Ascii (true, false, true,
-      false, false, true, true, false)), (String ((Ascii (false, true, true,
-      true, false, false, true, false)), (String ((Ascii (true, false, true,
-      false, true, true, true, false)), (String ((Ascii (true, false, true,
-      true, false, true, true, false)), (String ((Ascii (false, true, true,
-      false, false, false, true, false)), (String ((Ascii (true, false,
-      false, true, false, true, true, false)), (String ((Ascii (true, false,
-      true, false, false, true, true, false)), (String ((Ascii (false, false,
-      true, true, false, true, true, false)), (String ((Ascii (false, false,
-      true, false, false, true, true, false)),
-      EmptyString)))))))))))))))))))))))))) :: [])) :: ((mkcut (S (S (S (S (S
-                                                          (S (S (S (S (S (S
-                                                          (S (S (S (S (S (S
-                                                          (S (S (S (S (S (S
-                                                          (S (S (S (S (S (S
-                                                          (S (S (S (S (S (S
-                                                          (S (S (S (S
-                                                          O)))))))))))))))))))))))))))))))))))))))
-                                                          (S (S (S (S (S (S
-                                                          (S (S (S (S (S (S
-                                                          (S (S (S (S (S (S
-                                                          (S (S (S (S (S (S
-                                                          (S (S (S (S (S (S
-                                                          (S (S (S (S (S (S
-                                                          (S (S (S (S (S (S
-                                                          (S (S (S (S (S (S
-                                                          (S (S (S (S (S (S
-                                                          (S (S (S (S (S (S
-                                                          (S (S (S (S (S (S
-                                                          (S (S (S (S (S (S
-                                                          (S (S
-                                                          O))))))))))))))))))))))))))))))))))))))))))))))))))))))))))))))))))))))))))
-                                                          (String ((Ascii
-                                                          (false, false,
-                                                          true, false, false,
-                                                          false, true,
-                                                          false)), (String
-                                                          ((Ascii (false,
-                                                          true, true, false,
-                                                          false, false, true,
-                                                          false)), (String
-                                                          ((Ascii (true,
-                                                          false, false, true,
-                                                          false, false, true,
-                                                          false)), (String
-                                                          ((Ascii (true,
-                                                          false, false,
-                                                          false, false,
-                                                          false, true,
-                                                          false)), (String
-                                                          ((Ascii (true,
-                                                          true, false, false,
-                                                          false, true, true,
-                                                          false)), (String
-                                                          ((Ascii (true,
-                                                          true, false, false,
-                                                          false, true, true,
-                                                          false)), (String
-                                                          ((Ascii (true,
-                                                          true, true, true,
-                                                          false, true, true,
-                                                          false)), (String
-                                                          ((Ascii (true,
-                                                          false, true, false,
-                                                          true, true, true,
-                                                          false)), (String
-                                                          ((Ascii (false,
-                                                          true, true, true,
-                                                          false, true, true,
-                                                          false)), (String
-                                                          ((Ascii (false,
-                                                          false, true, false,
-                                                          true, true, true,
-                                                          false)), (String
-                                                          ((Ascii (false,
-                                                          true, true, true,
-                                                          false, false, true,
-                                                          false)), (String
-                                                          ((Ascii (true,
-                                                          false, true, false,
-                                                          true, true, true,
-                                                          false)), (String
-                                                          ((Ascii (true,
-                                                          false, true, true,
-                                                          false, true, true,
-                                                          false)), (String
-                                                          ((Ascii (false,
-                                                          true, false, false,
-                                                          false, true, true,
-                                                          false)), (String
-                                                          ((Ascii (true,
-                                                          false, true, false,
-                                                          false, true, true,
-                                                          false)), (String
-                                                          ((Ascii (false,
-                                                          true, false, false,
-                                                          true, true, true,
-                                                          false)),
-                                                          EmptyString))))))))))))))))))))))))))))))))
-                                                          ((String ((Ascii
-                                                          (false, false,
-                                                          false, false, true,
-                                                          true, true,
-                                                          false)), (String
-                                                          ((Ascii (true,
-                                                          false, false,
-                                                          false, false, true,
-                                                          true, false)),
-                                                          (String ((Ascii
-                                                          (false, true,
-                                                          false, false, true,
-                                                          true, true,
-                                                          false)), (String
-                                                          ((Ascii (true,
-                                                          true, false, false,
-                                                          true, true, true,
-                                                          false)), (String
-                                                          ((Ascii (true,
-                                                          false, true, false,
-                                                          false, true, true,
-                                                          false)), (String
-                                                          ((Ascii (true,
-                                                          true, false, false,
-                                                          true, false, true,
-                                                          false)), (String
-                                                          ((Ascii (false,
-                                                          false, true, false,
-                                                          true, true, true,
-                                                          false)), (String
-                                                          ((Ascii (false,
-                                                          true, false, false,
-                                                          true, true, true,
-                                                          false)), (String
-                                                          ((Ascii (true,
-                                                          false, false, true,
-                                                          false, true, true,
-                                                          false)), (String
-                                                          ((Ascii (false,
-                                                          true, true, true,
-                                                          false, true, true,
-                                                          false)), (String
-                                                          ((Ascii (true,
-                                                          true, true, false,
-                                                          false, true, true,
-                                                          false)), (String
-                                                          ((Ascii (false,
-                                                          true, true, false,
-                                                          false, false, true,
-                                                          false)), (String
-                                                          ((Ascii (true,
-                                                          false, false, true,
-                                                          false, true, true,
-                                                          false)), (String
-                                                          ((Ascii (true,
-                                                          false, true, false,
-                                                          false, true, true,
-                                                          false)), (String
-                                                          ((Ascii (false,
-                                                          false, true, true,
-                                                          false, true, true,
-                                                          false)), (String
-                                                          ((Ascii (false,
-                                                          false, true, false,
-                                                          false, true, true,
-                                                          false)), (String
-                                                          ((Ascii (true,
-                                                          true, true, false,
-                                                          true, false, true,
-                                                          false)), (String
-                                                          ((Ascii (true,
-                                                          false, false, true,
-                                                          false, true, true,
-                                                          false)), (String
-                                                          ((Ascii (false,
-                                                          false, true, false,
-                                                          true, true, true,
-                                                          false)), (String
-                                                          ((Ascii (false,
-                                                          false, false, true,
-                                                          false, true, true,
-                                                          false)), (String
-                                                          ((Ascii (true,
-                                                          true, true, true,
-                                                          false, false, true,
-                                                          false)), (String
-                                                          ((Ascii (false,
-                                                          false, false,
-                                                          false, true, true,
-                                                          true, false)),
-                                                          (String ((Ascii
-                                                          (false, false,
-                                                          true, false, true,
-                                                          true, true,
-                                                          false)), (String
-                                                          ((Ascii (true,
-                                                          true, false, false,
-                                                          true, true, true,
-                                                          false)),
-                                                          EmptyString)))))))))))))))))))))))))))))))))))))))))))))))) :: [])) :: (
-    (mkcut (S (S (S (S (S (S (S (S (S (S (S (S (S (S (S (S (S (S (S (S (S (S
-      (S (S (S (S (S (S (S (S (S (S (S (S (S (S (S (S (S (S (S (S (S (S (S (S
-      (S (S (S (S (S (S (S (S (S (S (S (S (S (S (S (S (S (S (S (S (S (S (S (S
-      (S (S (S (S
-      O))))))))))))))))))))))))))))))))))))))))))))))))))))))))))))))))))))))))))
-      (S (S (S (S (S (S (S (S (S (S (S (S (S (S (S (S (S (S (S (S (S (S (S (S
-      (S (S (S (S (S (S (S (S (S (S (S (S (S (S (S (S (S (S (S (S (S (S (S (S
-      (S (S (S (S (S (S (S (S (S (S (S (S (S (S (S (S (S (S (S (S (S (S (S (S
-      (S (S (S (S
-      O))))))))))))))))))))))))))))))))))))))))))))))))))))))))))))))))))))))))))))
-      EmptyString []) :: ((mkcut (S (S (S (S (S (S (S (S (S (S (S (S (S (S (S
-                            (S (S (S (S (S (S (S (S (S (S (S (S (S (S (S (S
-                            (S (S (S (S (S (S (S (S (S (S (S (S (S (S (S (S
-                            (S (S (S (S (S (S (S (S (S (S (S (S (S (S (S (S
-                            (S (S (S (S (S (S (S (S (S (S (S (S (S
-                            O))))))))))))))))))))))))))))))))))))))))))))))))))))))))))))))))))))))))))))
-                            (S (S (S (S (S (S (S (S (S (S (S (S (S (S (S (S
-                            (S (S (S (S (S (S (S (S (S (S (S (S (S (S (S (S
-                            (S (S (S (S (S (S (S (S (S (S (S (S (S (S (S (S
-                            (S (S (S (S (S (S (S (S (S (S (S (S (S (S (S (S
-                            (S (S (S (S (S (S (S (S (S (S (S (S (S
-                            O)))))))))))))))))))))))))))))))))))))))))))))))))))))))))))))))))))))))))))))
-                            EmptyString []) :: ((mkconst (String ((Ascii
-                                                  (true, true, true, true,
-                                                  false, false, true,
-                                                  false)), (String ((Ascii
-                                                  (false, true, true, false,
-                                                  false, false, true,
-                                                  false)), (String ((Ascii
-                                                  (true, false, false, false,
-                                                  false, false, true,
-                                                  false)), (String ((Ascii
-                                                  (true, true, false, false,
-                                                  false, false, true,
-                                                  false)), (String ((Ascii
-                                                  (true, true, false, false,
-                                                  true, false, true, false)),
-                                                  (String ((Ascii (true,
-                                                  true, false, false, false,
-                                                  true, true, false)),
-                                                  (String ((Ascii (false,
-                                                  true, false, false, true,
-                                                  true, true, false)),
-                                                  (String ((Ascii (true,
-                                                  false, true, false, false,
-                                                  true, true, false)),
-                                                  (String ((Ascii (true,
-                                                  false, true, false, false,
-                                                  true, true, false)),
-                                                  (String ((Ascii (false,
-                                                  true, true, true, false,
-                                                  true, true, false)),
-                                                  (String ((Ascii (true,
-                                                  false, false, true, false,
-                                                  true, true, false)),
-                                                  (String ((Ascii (false,
-                                                  true, true, true, false,
-                                                  true, true, false)),
-                                                  (String ((Ascii (true,
-                                                  true, true, false, false,
-                                                  true, true, false)),
-                                                  (String ((Ascii (true,
-                                                  false, false, true, false,
-                                                  false, true, false)),
-                                                  (String ((Ascii (false,
-                                                  true, true, true, false,
-                                                  true, true, false)),
-                                                  (String ((Ascii (false,
-                                                  false, true, false, false,
-                                                  true, true, false)),
-                                                  (String ((Ascii (true,
-                                                  false, false, true, false,
-                                                  true, true, false)),
-                                                  (String ((Ascii (true,
-                                                  true, false, false, false,
-                                                  true, true, false)),
-                                                  (String ((Ascii (true,
-                                                  false, false, false, false,
-                                                  true, true, false)),
-                                                  (String ((Ascii (false,
-                                                  false, true, false, true,
-                                                  true, true, false)),
-                                                  (String ((Ascii (true,
-                                                  true, true, true, false,
-                                                  true, true, false)),
-                                                  (String ((Ascii (false,
-                                                  true, false, false, true,
-                                                  true, true, false)),
-                                                  EmptyString))))))))))))))))))))))))))))))))))))))))))))
-                                                  ((Npos (XO (XO (XO (XO (XO
-                                                  XH)))))) :: [])) :: (
-    (mkcut (S (S (S (S (S (S (S (S (S (S (S (S (S (S (S (S (S (S (S (S (S (S
-      (S (S (S (S (S (S (S (S (S (S (S (S (S (S (S (S (S (S (S (S (S (S (S (S
-      (S (S (S (S (S (S (S (S (S (S (S (S (S (S (S (S (S (S (S (S (S (S (S (S
-      (S (S (S (S (S (S (S
-      O)))))))))))))))))))))))))))))))))))))))))))))))))))))))))))))))))))))))))))))
-      (S (S (S (S (S (S (S (S (S (S (S (S (S (S (S (S (S (S (S (S (S (S (S (S
-      (S (S (S (S (S (S (S (S (S (S (S (S (S (S (S (S (S (S (S (S (S (S (S (S
-      (S (S (S (S (S (S (S (S (S (S (S (S (S (S (S (S (S (S (S (S (S (S (S (S
-      (S (S (S (S (S (S
-      O))))))))))))))))))))))))))))))))))))))))))))))))))))))))))))))))))))))))))))))
-      EmptyString []) :: ((mkconst (String ((Ascii (true, true, false, false,
-                            true, false, true, false)), (String ((Ascii
-                            (true, false, true, false, false, true, true,
-                            false)), (String ((Ascii (true, true, false,
-                            false, false, true, true, false)), (String
-                            ((Ascii (true, true, true, true, false, true,
-                            true, false)), (String ((Ascii (false, true,
-                            true, true, false, true, true, false)), (String
-                            ((Ascii (false, false, true, false, false, true,
-                            true, false)), (String ((Ascii (true, false,
-                            false, false, false, true, true, false)), (String
-                            ((Ascii (false, true, false, false, true, true,
-                            true, false)), (String ((Ascii (true, false,
-                            false, true, true, true, true, false)), (String
-                            ((Ascii (true, true, true, true, false, false,
-                            true, false)), (String ((Ascii (false, true,
-                            true, false, false, false, true, false)), (String
-                            ((Ascii (true, false, false, false, false, false,
-                            true, false)), (String ((Ascii (true, true,
-                            false, false, false, false, true, false)),
-                            (String ((Ascii (true, true, false, false, true,
-                            false, true, false)), (String ((Ascii (true,
-                            true, false, false, false, true, true, false)),
-                            (String ((Ascii (false, true, false, false, true,
-                            true, true, false)), (String ((Ascii (true,
-                            false, true, false, false, true, true, false)),
-                            (String ((Ascii (true, false, true, false, false,
-                            true, true, false)), (String ((Ascii (false,
-                            true, true, true, false, true, true, false)),
-                            (String ((Ascii (true, false, false, true, false,
-                            true, true, false)), (String ((Ascii (false,
-                            true, true, true, false, true, true, false)),
-                            (String ((Ascii (true, true, true, false, false,
-                            true, true, false)), (String ((Ascii (true,
-                            false, false, true, false, false, true, false)),
-                            (String ((Ascii (false, true, true, true, false,
-                            true, true, false)), (String ((Ascii (false,
-                            false, true, false, false, true, true, false)),
-                            (String ((Ascii (true, false, false, true, false,
-                            true, true, false)), (String ((Ascii (true, true,
-                            false, false, false, true, true, false)), (String
-                            ((Ascii (true, false, false, false, false, true,
-                            true, false)), (String ((Ascii (false, false,
-                            true, false, true, true, true, false)), (String
-                            ((Ascii (true, true, true, true, false, true,
-                            true, false)), (String ((Ascii (false, true,
-                            false, false, true, true, true, false)),
-                            EmptyString))))))))))))))))))))))))))))))))))))))))))))))))))))))))))))))
-                            ((Npos (XO (XO (XO (XO (XO XH)))))) :: [])) :: (
-    (mkcut (S (S (S (S (S (S (S (S (S (S (S (S (S (S (S (S (S (S (S (S (S (S
-      (S (S (S (S (S (S (S (S (S (S (S (S (S (S (S (S (S (S (S (S (S (S (S (S
-      (S (S (S (S (S (S (S (S (S (S (S (S (S (S (S (S (S (S (S (S (S (S (S (S
-      (S (S (S (S (S (S (S (S
-      O))))))))))))))))))))))))))))))))))))))))))))))))))))))))))))))))))))))))))))))
-      (S (S (S (S (S (S (S (S (S (S (S (S (S (S (S (S (S (S (S (S (S (S (S (S
-      (S (S (S (S (S (S (S (S (S (S (S (S (S (S (S (S (S (S (S (S (S (S (S (S
-      (S (S (S (S (S (S (S (S (S (S (S (S (S (S (S (S (S (S (S (S (S (S (S (S
-      (S (S (S (S (S (S (S
-      O)))))))))))))))))))))))))))))))))))))))))))))))))))))))))))))))))))))))))))))))
-      (String ((Ascii (true, false, false, false, false, false, true,
-      false)), (String ((Ascii (false, false, true, false, false, true, true,
-      false)), (String ((Ascii (false, false, true, false, false, true, true,
-      false)), (String ((Ascii (true, false, true, false, false, true, true,
-      false)), (String ((Ascii (false, true, true, true, false, true, true,
-      false)), (String ((Ascii (false, false, true, false, false, true, true,
-      false)), (String ((Ascii (true, false, false, false, false, true, true,
-      false)), (String ((Ascii (false, true, false, false, true, false, true,
-      false)), (String ((Ascii (true, false, true, false, false, true, true,
-      false)), (String ((Ascii (true, true, false, false, false, true, true,
-      false)), (String ((Ascii (true, true, true, true, false, true, true,
-      false)), (String ((Ascii (false, true, false, false, true, true, true,
-      false)), (String ((Ascii (false, false, true, false, false, true, true,
-      false)), (String ((Ascii (true, false, false, true, false, false, true,
-      false)), (String ((Ascii (false, true, true, true, false, true, true,
-      false)), (String ((Ascii (false, false, true, false, false, true, true,
-      false)), (String ((Ascii (true, false, false, true, false, true, true,
-      false)), (String ((Ascii (true, true, false, false, false, true, true,
-      false)), (String ((Ascii (true, false, false, false, false, true, true,
-      false)), (String ((Ascii (false, false, true, false, true, true, true,
-      false)), (String ((Ascii (true, true, true, true, false, true, true,
-      false)), (String ((Ascii (false, true, false, false, true, true, true,
-      false)), EmptyString))))))))))))))))))))))))))))))))))))))))))))
-      ((String ((Ascii (false, false, false, false, true, true, true,
-      false)), (String ((Ascii (true, false, false, false, false, true, true,
-      false)), (String ((Ascii (false, true, false, false, true, true, true,
-      false)), (String ((Ascii (true, true, false, false, true, true, true,
-      false)), (String ((Ascii (true, false, true, false, false, true, true,
-      false)), (String ((Ascii (false, true, true, true, false, false, true,
-      false)), (String ((Ascii (true, false, true, false, true, true, true,
-      false)), (String ((Ascii (true, false, true, true, false, true, true,
-      false)), (String ((Ascii (false, true, true, false, false, false, true,
-      false)), (String ((Ascii (true, false, false, true, false, true, true,
-      false)), (String ((Ascii (true, false, true, false, false, true, true,
-      false)), (String ((Ascii (false, false, true, true, false, true, true,
-      false)), (String ((Ascii (false, false, true, false, false, true, true,
-      false)), EmptyString)))))))))))))))))))))))))) :: [])) :: ((mkcut (S (S
-                                                                   (S (S (S
-                                                                   (S (S (S
-                                                                   (S (S (S
-                                                                   (S (S (S
-                                                                   (S (S (S
-                                                                   (S (S (S
-                                                                   (S (S (S
-                                                                   (S (S (S
-                                                                   (S (S (S
-                                                                   (S (S (S
-                                                                   (S (S (S
-                                                                   (S (S (S
-                                                                   (S (S (S
-                                                                   (S (S (S
-                                                                   (S (S (S
-                                                                   (S (S (S
-                                                                   (S (S (S
-                                                                   (S (S (S
-                                                                   (S (S (S
-                                                                   (S (S (S
-                                                                   (S (S (S
-                                                                   (S (S (S
-                                                                   (S (S (S
-                                                                   (S (S (S
-                                                                   (S (S (S
-                                                                   (S (S
-                                                                   O)))))))))))))))))))))))))))))))))))))))))))))))))))))))))))))))))))))))))))))))
-                                                                   (S (S (S
-                                                                   (S (S (S
-                                                                   (S (S (S
-                                                                   (S (S (S
-                                                                   (S (S (S
-                                                                   (S (S (S
-                                                                   (S (S (S
-                                                                   (S (S (S
-                                                                   (S (S (S
-                                                                   (S (S (S
-                                                                   (S (S (S
-                                                                   (S (S (S
-                                                                   (S (S (S
-                                                                   (S (S (S
-                                                                   (S (S (S
-                                                                   (S (S (S
-                                                                   (S (S (S
-                                                                   (S (S (S
-                                                                   (S (S (S
-                                                                   (S (S (S
-                                                                   (S (S (S
-                                                                   (S (S (S
-                                                                   (S (S (S
-                                                                   (S (S (S
-                                                                   (S (S (S
-                                                                   (S (S (S
-                                                                   (S (S (S
-                                                                   (S (S (S
-                                                                   (S (S (S
-                                                                   (S (S (S
-                                                                   (S (S (S
-                                                                   (S
-                                                                   O))))))))))))))))))))))))))))))))))))))))))))))))))))))))))))))))))))))))))))))))))))))))))))))
-                                                                   (String
-                                                                   ((Ascii
-                                                                   (false,
-                                                                   false,
-                                                                   true,
-                                                                   false,
-                                                                   true,
-                                                                   false,
-                                                                   true,
-                                                                   false)),
-                                                                   (String
-                                                                   ((Ascii
-                                                                   (false,
-                                                                   true,
-                                                                   false,
-                                                                   false,
-                                                                   true,
-                                                                   true,
-                                                                   true,
-                                                                   false)),
-                                                                   (String
-                                                                   ((Ascii
-                                                                   (true,
-                                                                   false,
-                                                                   false,
-                                                                   false,
-                                                                   false,
-                                                                   true,
-                                                                   true,
-                                                                   false)),
-                                                                   (String
-                                                                   ((Ascii
-                                                                   (true,
-                                                                   true,
-                                                                   false,
-                                                                   false,
-                                                                   false,
-                                                                   true,
-                                                                   true,
-                                                                   false)),
-                                                                   (String
-                                                                   ((Ascii
-                                                                   (true,
-                                                                   false,
-                                                                   true,
-                                                                   false,
-                                                                   false,
-                                                                   true,
-                                                                   true,
-                                                                   false)),
-                                                                   (String
-                                                                   ((Ascii
-                                                                   (false,
-                                                                   true,
-                                                                   true,
-                                                                   true,
-                                                                   false,
-                                                                   false,
-                                                                   true,
-                                                                   false)),
-                                                                   (String
-                                                                   ((Ascii
-                                                                   (true,
-                                                                   false,
-                                                                   true,
-                                                                   false,
-                                                                   true,
-                                                                   true,
-                                                                   true,
-                                                                   false)),
-                                                                   (String
-                                                                   ((Ascii
-                                                                   (true,
-                                                                   false,
-                                                                   true,
-                                                                   true,
-                                                                   false,
-                                                                   true,
-                                                                   true,
-                                                                   false)),
-                                                                   (String
-                                                                   ((Ascii
-                                                                   (false,
-                                                                   true,
-                                                                   false,
-                                                                   false,
-                                                                   false,
-                                                                   true,
-                                                                   true,
-                                                                   false)),
-                                                                   (String
-                                                                   ((Ascii
-                                                                   (true,
-                                                                   false,
-                                                                   true,
-                                                                   false,
-                                                                   false,
-                                                                   true,
-                                                                   true,
-                                                                   false)),
-                                                                   (String
-                                                                   ((Ascii
-                                                                   (false,
-                                                                   true,
-                                                                   false,
-                                                                   false,
-                                                                   true,
-                                                                   true,
-                                                                   true,
-                                                                   false)),
-                                                                   EmptyString))))))))))))))))))))))
-                                                                   ((String
-                                                                   ((Ascii
-                                                                   (true,
-                                                                   true,
-                                                                   false,
-                                                                   false,
-                                                                   true,
-                                                                   true,
-                                                                   true,
-                                                                   false)),
-                                                                   (String
-                                                                   ((Ascii
-                                                                   (false,
-                                                                   false,
-                                                                   true,
-                                                                   false,
-                                                                   true,
-                                                                   true,
-                                                                   true,
-                                                                   false)),
-                                                                   (String
-                                                                   ((Ascii
-                                                                   (false,
-                                                                   true,
-                                                                   false,
-                                                                   false,
-                                                                   true,
-                                                                   true,
-                                                                   true,
-                                                                   false)),
-                                                                   (String
-                                                                   ((Ascii
-                                                                   (true,
-                                                                   false,
-                                                                   false,
-                                                                   true,
-                                                                   false,
-                                                                   true,
-                                                                   true,
-                                                                   false)),
-                                                                   (String
-                                                                   ((Ascii
-                                                                   (false,
-                                                                   true,
-                                                                   true,
-                                                                   true,
-                                                                   false,
-                                                                   true,
-                                                                   true,
-                                                                   false)),
-                                                                   (String
-                                                                   ((Ascii
-                                                                   (true,
-                                                                   true,
-                                                                   true,
-                                                                   false,
-                                                                   false,
-                                                                   true,
-                                                                   true,
-                                                                   false)),
-                                                                   (String
-                                                                   ((Ascii
-                                                                   (true,
-                                                                   true,
-                                                                   false,
-                                                                   false,
-                                                                   true,
-                                                                   true,
-                                                                   true,
-                                                                   false)),
-                                                                   (String
-                                                                   ((Ascii
-                                                                   (false,
-                                                                   true,
-                                                                   true,
-                                                                   true,
-                                                                   false,
-                                                                   true,
-                                                                   false,
-                                                                   false)),
-                                                                   (String
-                                                                   ((Ascii
-                                                                   (false,
-                                                                   false,
-                                                                   true,
-                                                                   false,
-                                                                   true,
-                                                                   false,
-                                                                   true,
-                                                                   false)),
-                                                                   (String
-                                                                   ((Ascii
-                                                                   (false,
-                                                                   true,
-                                                                   false,
-                                                                   false,
-                                                                   true,
-                                                                   true,
-                                                                   true,
-                                                                   false)),
-                                                                   (String
-                                                                   ((Ascii
-                                                                   (true,
-                                                                   false,
-                                                                   false,
-                                                                   true,
-                                                                   false,
-                                                                   true,
-                                                                   true,
-                                                                   false)),
-                                                                   (String
-                                                                   ((Ascii
-                                                                   (true,
-                                                                   false,
-                                                                   true,
-                                                                   true,
-                                                                   false,
-                                                                   true,
-                                                                   true,
-                                                                   false)),
-                                                                   (String
-                                                                   ((Ascii
-                                                                   (true,
-                                                                   true,
-                                                                   false,
-                                                                   false,
-                                                                   true,
-                                                                   false,
-                                                                   true,
-                                                                   false)),
-                                                                   (String
-                                                                   ((Ascii
-                                                                   (false,
-                                                                   false,
-                                                                   false,
-                                                                   false,
-                                                                   true,
-                                                                   true,
-                                                                   true,
-                                                                   false)),
-                                                                   (String
-                                                                   ((Ascii
-                                                                   (true,
-                                                                   false,
-                                                                   false,
-                                                                   false,
-                                                                   false,
-                                                                   true,
-                                                                   true,
-                                                                   false)),
-                                                                   (String
-                                                                   ((Ascii
-                                                                   (true,
-                                                                   true,
-                                                                   false,
-                                                                   false,
-                                                                   false,
-                                                                   true,
-                                                                   true,
-                                                                   false)),
-                                                                   (String
-                                                                   ((Ascii
-                                                                   (true,
-                                                                   false,
-                                                                   true,
-                                                                   false,
-                                                                   false,
-                                                                   true,
-                                                                   true,
-                                                                   false)),
-                                                                   EmptyString)))))))))))))))))))))))))))))))))) :: [])) :: []))))))))))))))) }
-
-(** val all_layouts : layout list **)
-
-let all_layouts =
-  l_ADVBatchControl :: (l_ADVEntryDetail :: (l_ADVFileControl :: (l_Addenda02 :: (l_Addenda05 :: (l_Addenda10 :: (l_Addenda11 :: (l_Addenda12 :: (l_Addenda13 :: (l_Addenda14 :: (l_Addenda15 :: (l_Addenda16 :: (l_Addenda17 :: (l_Addenda18 :: (l_Addenda98 :: (l_Addenda98Refused :: (l_Addenda99 :: (l_Addenda99Contested :: (l_Addenda99Dishonored :: (l_BatchControl :: (l_BatchHeader :: (l_EntryDetail :: (l_FileControl :: (l_FileHeader :: (l_IATBatchHeader :: (l_IATEntryDetail :: [])))))))))))))))))))))))))
+let sT =
+  { st_seg_std = seg_std_arms; st_seg_iat = seg_iat_arms; st_seg_adv =
+    seg_adv_arms; st_amt_std = amount_std_arms; st_amt_iat = amount_iat_arms;
+    st_amt_adv = amount_adv_arms; st_scc_std = seg_scc_std; st_scc_iat =
+    seg_scc_iat; st_codes = seg_standard_codes }
